@@ -37,13 +37,6 @@ type comparison =
 | Lt
 | Gt
 
-(** val compOpp : comparison -> comparison **)
-
-let compOpp = function
-| Eq -> Eq
-| Lt -> Gt
-| Gt -> Lt
-
 module Coq__1 = struct
  (** val add : nat -> nat -> nat **)
  let rec add n0 m =
@@ -53,47 +46,47 @@ module Coq__1 = struct
 end
 include Coq__1
 
-(** val sub : nat -> nat -> nat **)
+(** val rev : 'a1 list -> 'a1 list **)
 
-let rec sub n0 m =
+let rec rev = function
+| [] -> []
+| x :: l' -> app (rev l') (x :: [])
+
+(** val concat : 'a1 list list -> 'a1 list **)
+
+let rec concat = function
+| [] -> []
+| x :: l0 -> app x (concat l0)
+
+(** val map : ('a1 -> 'a2) -> 'a1 list -> 'a2 list **)
+
+let rec map f = function
+| [] -> []
+| a :: t -> (f a) :: (map f t)
+
+(** val firstn : nat -> 'a1 list -> 'a1 list **)
+
+let rec firstn n0 l =
   match n0 with
-  | O -> n0
-  | S k -> (match m with
-            | O -> n0
-            | S l -> sub k l)
+  | O -> []
+  | S n1 -> (match l with
+             | [] -> []
+             | a :: l0 -> a :: (firstn n1 l0))
 
-(** val eqb : bool -> bool -> bool **)
+(** val skipn : nat -> 'a1 list -> 'a1 list **)
 
-let eqb b1 b2 =
-  if b1 then b2 else if b2 then false else true
+let rec skipn n0 l =
+  match n0 with
+  | O -> l
+  | S n1 -> (match l with
+             | [] -> []
+             | _ :: l0 -> skipn n1 l0)
 
-module Nat =
- struct
-  (** val eqb : nat -> nat -> bool **)
+(** val repeat : 'a1 -> nat -> 'a1 list **)
 
-  let rec eqb n0 m =
-    match n0 with
-    | O -> (match m with
-            | O -> true
-            | S _ -> false)
-    | S n' -> (match m with
-               | O -> false
-               | S m' -> eqb n' m')
-
-  (** val leb : nat -> nat -> bool **)
-
-  let rec leb n0 m =
-    match n0 with
-    | O -> true
-    | S n' -> (match m with
-               | O -> false
-               | S m' -> leb n' m')
-
-  (** val ltb : nat -> nat -> bool **)
-
-  let ltb n0 m =
-    leb (S n0) m
- end
+let rec repeat x = function
+| O -> []
+| S k -> x :: (repeat x k)
 
 type positive =
 | XI of positive
@@ -103,11 +96,6 @@ type positive =
 type n =
 | N0
 | Npos of positive
-
-type z =
-| Z0
-| Zpos of positive
-| Zneg of positive
 
 module Pos =
  struct
@@ -231,21 +219,6 @@ module Coq_Pos =
        | XH -> double_pred_mask p)
     | XH -> IsNeg
 
-  (** val mul : positive -> positive -> positive **)
-
-  let rec mul x y =
-    match x with
-    | XI p -> add y (XO (mul p y))
-    | XO p -> XO (mul p y)
-    | XH -> y
-
-  (** val size : positive -> positive **)
-
-  let rec size = function
-  | XI p0 -> succ (size p0)
-  | XO p0 -> succ (size p0)
-  | XH -> XH
-
   (** val compare_cont : comparison -> positive -> positive -> comparison **)
 
   let rec compare_cont r x y =
@@ -295,6 +268,12 @@ module Coq_Pos =
 
   let to_nat x =
     iter_op Coq__1.add x (S O)
+
+  (** val of_succ_nat : nat -> positive **)
+
+  let rec of_succ_nat = function
+  | O -> XH
+  | S x -> succ (of_succ_nat x)
  end
 
 module N =
@@ -333,15 +312,6 @@ module N =
           | Coq_Pos.IsPos p -> Npos p
           | _ -> N0))
 
-  (** val mul : n -> n -> n **)
-
-  let mul n0 m =
-    match n0 with
-    | N0 -> N0
-    | Npos p -> (match m with
-                 | N0 -> N0
-                 | Npos q -> Npos (Coq_Pos.mul p q))
-
   (** val compare : n -> n -> comparison **)
 
   let compare n0 m =
@@ -378,16 +348,6 @@ module N =
     | Lt -> true
     | _ -> false
 
-  (** val log2 : n -> n **)
-
-  let log2 = function
-  | N0 -> N0
-  | Npos p0 ->
-    (match p0 with
-     | XI p -> Npos (Coq_Pos.size p)
-     | XO p -> Npos (Coq_Pos.size p)
-     | XH -> N0)
-
   (** val pos_div_eucl : positive -> n -> n * n **)
 
   let rec pos_div_eucl a b =
@@ -416,11 +376,6 @@ module N =
                   | N0 -> (N0, a)
                   | Npos _ -> pos_div_eucl na b)
 
-  (** val div : n -> n -> n **)
-
-  let div a b =
-    fst (div_eucl a b)
-
   (** val modulo : n -> n -> n **)
 
   let modulo a b =
@@ -431,31065 +386,427 @@ module N =
   let to_nat = function
   | N0 -> O
   | Npos p -> Coq_Pos.to_nat p
+
+  (** val of_nat : nat -> n **)
+
+  let of_nat = function
+  | O -> N0
+  | S n' -> Npos (Coq_Pos.of_succ_nat n')
  end
-
-(** val rev : 'a1 list -> 'a1 list **)
-
-let rec rev = function
-| [] -> []
-| x :: l' -> app (rev l') (x :: [])
-
-(** val concat : 'a1 list list -> 'a1 list **)
-
-let rec concat = function
-| [] -> []
-| x :: l0 -> app x (concat l0)
-
-(** val map : ('a1 -> 'a2) -> 'a1 list -> 'a2 list **)
-
-let rec map f = function
-| [] -> []
-| a :: t -> (f a) :: (map f t)
-
-(** val flat_map : ('a1 -> 'a2 list) -> 'a1 list -> 'a2 list **)
-
-let rec flat_map f = function
-| [] -> []
-| x :: t -> app (f x) (flat_map f t)
-
-(** val forallb : ('a1 -> bool) -> 'a1 list -> bool **)
-
-let rec forallb f = function
-| [] -> true
-| a :: l0 -> (&&) (f a) (forallb f l0)
-
-(** val firstn : nat -> 'a1 list -> 'a1 list **)
-
-let rec firstn n0 l =
-  match n0 with
-  | O -> []
-  | S n1 -> (match l with
-             | [] -> []
-             | a :: l0 -> a :: (firstn n1 l0))
-
-(** val skipn : nat -> 'a1 list -> 'a1 list **)
-
-let rec skipn n0 l =
-  match n0 with
-  | O -> l
-  | S n1 -> (match l with
-             | [] -> []
-             | _ :: l0 -> skipn n1 l0)
-
-(** val repeat : 'a1 -> nat -> 'a1 list **)
-
-let rec repeat x = function
-| O -> []
-| S k -> x :: (repeat x k)
-
-module Z =
- struct
-  (** val double : z -> z **)
-
-  let double = function
-  | Z0 -> Z0
-  | Zpos p -> Zpos (XO p)
-  | Zneg p -> Zneg (XO p)
-
-  (** val succ_double : z -> z **)
-
-  let succ_double = function
-  | Z0 -> Zpos XH
-  | Zpos p -> Zpos (XI p)
-  | Zneg p -> Zneg (Coq_Pos.pred_double p)
-
-  (** val pred_double : z -> z **)
-
-  let pred_double = function
-  | Z0 -> Zneg XH
-  | Zpos p -> Zpos (Coq_Pos.pred_double p)
-  | Zneg p -> Zneg (XI p)
-
-  (** val pos_sub : positive -> positive -> z **)
-
-  let rec pos_sub x y =
-    match x with
-    | XI p ->
-      (match y with
-       | XI q -> double (pos_sub p q)
-       | XO q -> succ_double (pos_sub p q)
-       | XH -> Zpos (XO p))
-    | XO p ->
-      (match y with
-       | XI q -> pred_double (pos_sub p q)
-       | XO q -> double (pos_sub p q)
-       | XH -> Zpos (Coq_Pos.pred_double p))
-    | XH ->
-      (match y with
-       | XI q -> Zneg (XO q)
-       | XO q -> Zneg (Coq_Pos.pred_double q)
-       | XH -> Z0)
-
-  (** val add : z -> z -> z **)
-
-  let add x y =
-    match x with
-    | Z0 -> y
-    | Zpos x' ->
-      (match y with
-       | Z0 -> x
-       | Zpos y' -> Zpos (Coq_Pos.add x' y')
-       | Zneg y' -> pos_sub x' y')
-    | Zneg x' ->
-      (match y with
-       | Z0 -> x
-       | Zpos y' -> pos_sub y' x'
-       | Zneg y' -> Zneg (Coq_Pos.add x' y'))
-
-  (** val opp : z -> z **)
-
-  let opp = function
-  | Z0 -> Z0
-  | Zpos x0 -> Zneg x0
-  | Zneg x0 -> Zpos x0
-
-  (** val mul : z -> z -> z **)
-
-  let mul x y =
-    match x with
-    | Z0 -> Z0
-    | Zpos x' ->
-      (match y with
-       | Z0 -> Z0
-       | Zpos y' -> Zpos (Coq_Pos.mul x' y')
-       | Zneg y' -> Zneg (Coq_Pos.mul x' y'))
-    | Zneg x' ->
-      (match y with
-       | Z0 -> Z0
-       | Zpos y' -> Zneg (Coq_Pos.mul x' y')
-       | Zneg y' -> Zpos (Coq_Pos.mul x' y'))
-
-  (** val compare : z -> z -> comparison **)
-
-  let compare x y =
-    match x with
-    | Z0 -> (match y with
-             | Z0 -> Eq
-             | Zpos _ -> Lt
-             | Zneg _ -> Gt)
-    | Zpos x' -> (match y with
-                  | Zpos y' -> Coq_Pos.compare x' y'
-                  | _ -> Gt)
-    | Zneg x' ->
-      (match y with
-       | Zneg y' -> compOpp (Coq_Pos.compare x' y')
-       | _ -> Lt)
-
-  (** val leb : z -> z -> bool **)
-
-  let leb x y =
-    match compare x y with
-    | Gt -> false
-    | _ -> true
-
-  (** val eqb : z -> z -> bool **)
-
-  let eqb x y =
-    match x with
-    | Z0 -> (match y with
-             | Z0 -> true
-             | _ -> false)
-    | Zpos p -> (match y with
-                 | Zpos q -> Coq_Pos.eqb p q
-                 | _ -> false)
-    | Zneg p -> (match y with
-                 | Zneg q -> Coq_Pos.eqb p q
-                 | _ -> false)
-
-  (** val of_N : n -> z **)
-
-  let of_N = function
-  | N0 -> Z0
-  | Npos p -> Zpos p
- end
-
-type ascii =
-| Ascii of bool * bool * bool * bool * bool * bool * bool * bool
-
-(** val eqb0 : ascii -> ascii -> bool **)
-
-let eqb0 a b =
-  let Ascii (a0, a1, a2, a3, a4, a5, a6, a7) = a in
-  let Ascii (b0, b1, b2, b3, b4, b5, b6, b7) = b in
-  if if if if if if if eqb a0 b0 then eqb a1 b1 else false
-                 then eqb a2 b2
-                 else false
-              then eqb a3 b3
-              else false
-           then eqb a4 b4
-           else false
-        then eqb a5 b5
-        else false
-     then eqb a6 b6
-     else false
-  then eqb a7 b7
-  else false
-
-type string =
-| EmptyString
-| String of ascii * string
-
-(** val eqb1 : string -> string -> bool **)
-
-let rec eqb1 s1 s2 =
-  match s1 with
-  | EmptyString ->
-    (match s2 with
-     | EmptyString -> true
-     | String (_, _) -> false)
-  | String (c1, s1') ->
-    (match s2 with
-     | EmptyString -> false
-     | String (c2, s2') -> if eqb0 c1 c2 then eqb1 s1' s2' else false)
 
 type bytes = n list
 
-(** val sp : n **)
+(** val nine : n **)
 
-let sp =
-  Npos (XO (XO (XO (XO (XO XH)))))
+let nine =
+  Npos (XI (XO (XO (XI (XI XH)))))
 
-(** val zero : n **)
+(** val blen : bytes -> n **)
 
-let zero =
-  Npos (XO (XO (XO (XO (XI XH)))))
+let blen l =
+  N.of_nat (length l)
 
-(** val bytes_eqb : bytes -> bytes -> bool **)
+type werr =
+| EInj
+| EShort
+| EFuel
 
-let rec bytes_eqb a b =
-  match a with
-  | [] -> (match b with
-           | [] -> true
-           | _ :: _ -> false)
-  | x :: a' ->
-    (match b with
-     | [] -> false
-     | y :: b' -> (&&) (N.eqb x y) (bytes_eqb a' b'))
+type skind =
+| Hard
+| Short
+| ShortNil
+| FullErr
 
-(** val rune_error : n **)
+type fault = { f_k : n; f_kind : skind; f_transient : bool }
 
-let rune_error =
-  Npos (XI (XO (XI (XI (XI (XI (XI (XI (XI (XI (XI (XI (XI (XI (XI
-    XH)))))))))))))))
+type sink = { s_fault : fault option; s_got : bytes; s_calls : n;
+              s_tripped : bool }
 
-(** val cont : n -> bool **)
+(** val new_sink : fault option -> sink **)
 
-let cont b =
-  (&&) (N.leb (Npos (XO (XO (XO (XO (XO (XO (XO XH)))))))) b)
-    (N.leb b (Npos (XI (XI (XI (XI (XI (XI (XO XH)))))))))
+let new_sink fo =
+  { s_fault = fo; s_got = []; s_calls = N0; s_tripped = false }
 
-(** val seq_size : n -> nat **)
+(** val sink_write : sink -> bytes -> (sink * n) * werr option **)
 
-let seq_size b0 =
-  if N.ltb b0 (Npos (XO (XI (XO (XO (XO (XO (XI XH))))))))
-  then O
-  else if N.leb b0 (Npos (XI (XI (XI (XI (XI (XO (XI XH))))))))
-       then S (S O)
-       else if N.leb b0 (Npos (XI (XI (XI (XI (XO (XI (XI XH))))))))
-            then S (S (S O))
-            else if N.leb b0 (Npos (XO (XO (XI (XO (XI (XI (XI XH))))))))
-                 then S (S (S (S O)))
-                 else O
+let sink_write s p =
+  let pos = blen s.s_got in
+  let lp = blen p in
+  let healthy = (({ s_fault = s.s_fault; s_got = (app s.s_got p); s_calls =
+    (N.add s.s_calls (Npos XH)); s_tripped = s.s_tripped }, lp), None)
+  in
+  (match s.s_fault with
+   | Some f ->
+     if (||) ((&&) f.f_transient s.s_tripped) (N.leb (N.add pos lp) f.f_k)
+     then healthy
+     else let n0 = N.sub f.f_k pos in
+          let part = { s_fault = s.s_fault; s_got =
+            (app s.s_got (firstn (N.to_nat n0) p)); s_calls =
+            (N.add s.s_calls (Npos XH)); s_tripped = true }
+          in
+          (match f.f_kind with
+           | Hard -> ((part, n0), (Some EInj))
+           | Short -> ((part, n0), (Some EShort))
+           | ShortNil -> ((part, n0), None)
+           | FullErr ->
+             (({ s_fault = s.s_fault; s_got = (app s.s_got p); s_calls =
+               (N.add s.s_calls (Npos XH)); s_tripped = true }, lp), (Some
+               EInj)))
+   | None -> healthy)
 
-(** val second_ok : n -> n -> bool **)
+(** val cap : n **)
 
-let second_ok b0 b1 =
-  if N.eqb b0 (Npos (XO (XO (XO (XO (XO (XI (XI XH))))))))
-  then (&&) (N.leb (Npos (XO (XO (XO (XO (XO (XI (XO XH)))))))) b1)
-         (N.leb b1 (Npos (XI (XI (XI (XI (XI (XI (XO XH)))))))))
-  else if N.eqb b0 (Npos (XI (XO (XI (XI (XO (XI (XI XH))))))))
-       then (&&) (N.leb (Npos (XO (XO (XO (XO (XO (XO (XO XH)))))))) b1)
-              (N.leb b1 (Npos (XI (XI (XI (XI (XI (XO (XO XH)))))))))
-       else if N.eqb b0 (Npos (XO (XO (XO (XO (XI (XI (XI XH))))))))
-            then (&&) (N.leb (Npos (XO (XO (XO (XO (XI (XO (XO XH)))))))) b1)
-                   (N.leb b1 (Npos (XI (XI (XI (XI (XI (XI (XO XH)))))))))
-            else if N.eqb b0 (Npos (XO (XO (XI (XO (XI (XI (XI XH))))))))
-                 then (&&)
-                        (N.leb (Npos (XO (XO (XO (XO (XO (XO (XO XH))))))))
-                          b1)
-                        (N.leb b1 (Npos (XI (XI (XI (XI (XO (XO (XO
-                          XH)))))))))
-                 else cont b1
+let cap =
+  Npos (XO (XO (XO (XO (XO (XO (XO (XO (XO (XO (XO (XO XH))))))))))))
 
-(** val chunks : bytes -> (n * bytes) list **)
+type bw = { b_pend : bytes list; b_n : n; b_err : werr option; b_sink : sink }
 
-let rec chunks = function
-| [] -> []
-| b0 :: t ->
-  if N.ltb b0 (Npos (XO (XO (XO (XO (XO (XO (XO XH))))))))
-  then (b0, (b0 :: [])) :: (chunks t)
-  else (match seq_size b0 with
-        | O -> (rune_error, (b0 :: [])) :: (chunks t)
-        | S n0 ->
-          (match n0 with
-           | O -> (rune_error, (b0 :: [])) :: (chunks t)
-           | S n1 ->
-             (match n1 with
-              | O ->
-                (match t with
-                 | [] -> (rune_error, (b0 :: [])) :: (chunks t)
-                 | b1 :: t1 ->
-                   if second_ok b0 b1
-                   then ((N.add
-                           (N.mul
-                             (N.sub b0 (Npos (XO (XO (XO (XO (XO (XO (XI
-                               XH))))))))) (Npos (XO (XO (XO (XO (XO (XO
-                             XH))))))))
-                           (N.sub b1 (Npos (XO (XO (XO (XO (XO (XO (XO
-                             XH)))))))))), (b0 :: (b1 :: []))) :: (chunks t1)
-                   else (rune_error, (b0 :: [])) :: (chunks t))
-              | S n2 ->
-                (match n2 with
-                 | O ->
-                   (match t with
-                    | [] -> (rune_error, (b0 :: [])) :: (chunks t)
-                    | b1 :: l0 ->
-                      (match l0 with
-                       | [] -> (rune_error, (b0 :: [])) :: (chunks t)
-                       | b2 :: t2 ->
-                         if (&&) (second_ok b0 b1) (cont b2)
-                         then ((N.add
-                                 (N.add
-                                   (N.mul
-                                     (N.sub b0 (Npos (XO (XO (XO (XO (XO (XI
-                                       (XI XH))))))))) (Npos (XO (XO (XO (XO
-                                     (XO (XO (XO (XO (XO (XO (XO (XO
-                                     XH))))))))))))))
-                                   (N.mul
-                                     (N.sub b1 (Npos (XO (XO (XO (XO (XO (XO
-                                       (XO XH))))))))) (Npos (XO (XO (XO (XO
-                                     (XO (XO XH)))))))))
-                                 (N.sub b2 (Npos (XO (XO (XO (XO (XO (XO (XO
-                                   XH)))))))))),
-                                (b0 :: (b1 :: (b2 :: [])))) :: (chunks t2)
-                         else (rune_error, (b0 :: [])) :: (chunks t)))
-                 | S n3 ->
-                   (match n3 with
-                    | O ->
-                      (match t with
-                       | [] -> (rune_error, (b0 :: [])) :: (chunks t)
-                       | b1 :: l0 ->
-                         (match l0 with
-                          | [] -> (rune_error, (b0 :: [])) :: (chunks t)
-                          | b2 :: l1 ->
-                            (match l1 with
-                             | [] -> (rune_error, (b0 :: [])) :: (chunks t)
-                             | b3 :: t3 ->
-                               if (&&) ((&&) (second_ok b0 b1) (cont b2))
-                                    (cont b3)
-                               then ((N.add
-                                       (N.add
-                                         (N.add
-                                           (N.mul
-                                             (N.sub b0 (Npos (XO (XO (XO (XO
-                                               (XI (XI (XI XH))))))))) (Npos
-                                             (XO (XO (XO (XO (XO (XO (XO (XO
-                                             (XO (XO (XO (XO (XO (XO (XO (XO
-                                             (XO (XO XH))))))))))))))))))))
-                                           (N.mul
-                                             (N.sub b1 (Npos (XO (XO (XO (XO
-                                               (XO (XO (XO XH))))))))) (Npos
-                                             (XO (XO (XO (XO (XO (XO (XO (XO
-                                             (XO (XO (XO (XO XH)))))))))))))))
-                                         (N.mul
-                                           (N.sub b2 (Npos (XO (XO (XO (XO
-                                             (XO (XO (XO XH))))))))) (Npos
-                                           (XO (XO (XO (XO (XO (XO XH)))))))))
-                                       (N.sub b3 (Npos (XO (XO (XO (XO (XO
-                                         (XO (XO XH)))))))))),
-                                      (b0 :: (b1 :: (b2 :: (b3 :: []))))) :: 
-                                      (chunks t3)
-                               else (rune_error, (b0 :: [])) :: (chunks t))))
-                    | S _ -> (rune_error, (b0 :: [])) :: (chunks t))))))
+(** val new_bw : sink -> bw **)
 
-(** val runes : bytes -> n list **)
+let new_bw s =
+  { b_pend = []; b_n = N0; b_err = None; b_sink = s }
 
-let runes l =
-  map fst (chunks l)
+(** val buf_bytes : bw -> bytes **)
 
-(** val rune_count : bytes -> nat **)
+let buf_bytes b =
+  concat (rev b.b_pend)
 
-let rune_count l =
-  length (chunks l)
+(** val avail : bw -> n **)
 
-(** val encode_rune : n -> bytes **)
+let avail b =
+  N.sub cap b.b_n
 
-let encode_rune r =
-  if N.ltb r (Npos (XO (XO (XO (XO (XO (XO (XO XH))))))))
-  then r :: []
-  else if N.ltb r (Npos (XO (XO (XO (XO (XO (XO (XO (XO (XO (XO (XO
-            XH))))))))))))
-       then (N.add (Npos (XO (XO (XO (XO (XO (XO (XI XH))))))))
-              (N.div r (Npos (XO (XO (XO (XO (XO (XO XH))))))))) :: (
-              (N.add (Npos (XO (XO (XO (XO (XO (XO (XO XH))))))))
-                (N.modulo r (Npos (XO (XO (XO (XO (XO (XO XH))))))))) :: [])
-       else if (&&)
-                 (N.leb (Npos (XO (XO (XO (XO (XO (XO (XO (XO (XO (XO (XO (XI
-                   (XI (XO (XI XH)))))))))))))))) r)
-                 (N.leb r (Npos (XI (XI (XI (XI (XI (XI (XI (XI (XI (XI (XI
-                   (XI (XI (XO (XI XH)))))))))))))))))
-            then (Npos (XI (XI (XI (XI (XO (XI (XI XH)))))))) :: ((Npos (XI
-                   (XI (XI (XI (XI (XI (XO XH)))))))) :: ((Npos (XI (XO (XI
-                   (XI (XI (XI (XO XH)))))))) :: []))
-            else if N.ltb r (Npos (XO (XO (XO (XO (XO (XO (XO (XO (XO (XO (XO
-                      (XO (XO (XO (XO (XO XH)))))))))))))))))
-                 then (N.add (Npos (XO (XO (XO (XO (XO (XI (XI XH))))))))
-                        (N.div r (Npos (XO (XO (XO (XO (XO (XO (XO (XO (XO
-                          (XO (XO (XO XH))))))))))))))) :: ((N.add (Npos (XO
-                                                              (XO (XO (XO (XO
-                                                              (XO (XO
-                                                              XH))))))))
-                                                              (N.modulo
-                                                                (N.div r
-                                                                  (Npos (XO
-                                                                  (XO (XO (XO
-                                                                  (XO (XO
-                                                                  XH))))))))
-                                                                (Npos (XO (XO
-                                                                (XO (XO (XO
-                                                                (XO XH))))))))) :: (
-                        (N.add (Npos (XO (XO (XO (XO (XO (XO (XO XH))))))))
-                          (N.modulo r (Npos (XO (XO (XO (XO (XO (XO XH))))))))) :: []))
-                 else if N.ltb r (Npos (XO (XO (XO (XO (XO (XO (XO (XO (XO
-                           (XO (XO (XO (XO (XO (XO (XO (XI (XO (XO (XO
-                           XH)))))))))))))))))))))
-                      then (N.add (Npos (XO (XO (XO (XO (XI (XI (XI
-                             XH))))))))
-                             (N.div r (Npos (XO (XO (XO (XO (XO (XO (XO (XO
-                               (XO (XO (XO (XO (XO (XO (XO (XO (XO (XO
-                               XH))))))))))))))))))))) :: ((N.add (Npos (XO
-                                                             (XO (XO (XO (XO
-                                                             (XO (XO
-                                                             XH))))))))
-                                                             (N.modulo
-                                                               (N.div r (Npos
-                                                                 (XO (XO (XO
-                                                                 (XO (XO (XO
-                                                                 (XO (XO (XO
-                                                                 (XO (XO (XO
-                                                                 XH))))))))))))))
-                                                               (Npos (XO (XO
-                                                               (XO (XO (XO
-                                                               (XO XH))))))))) :: (
-                             (N.add (Npos (XO (XO (XO (XO (XO (XO (XO
-                               XH))))))))
-                               (N.modulo
-                                 (N.div r (Npos (XO (XO (XO (XO (XO (XO
-                                   XH)))))))) (Npos (XO (XO (XO (XO (XO (XO
-                                 XH))))))))) :: ((N.add (Npos (XO (XO (XO (XO
-                                                   (XO (XO (XO XH))))))))
-                                                   (N.modulo r (Npos (XO (XO
-                                                     (XO (XO (XO (XO
-                                                     XH))))))))) :: [])))
-                      else (Npos (XI (XI (XI (XI (XO (XI (XI
-                             XH)))))))) :: ((Npos (XI (XI (XI (XI (XI (XI (XO
-                             XH)))))))) :: ((Npos (XI (XO (XI (XI (XI (XI (XO
-                             XH)))))))) :: []))
+(** val push : bw -> bytes -> bw **)
 
-(** val encode : n list -> bytes **)
+let push b s =
+  { b_pend = (s :: b.b_pend); b_n = (N.add b.b_n (blen s)); b_err = b.b_err;
+    b_sink = b.b_sink }
 
-let encode rs =
-  flat_map encode_rune rs
+(** val set_err : bw -> werr -> bw **)
 
-type seg =
-| SLit of bytes
-| SAlpha of string * nat
-| SNum of string * nat
-| SStr of string * nat
-| SRaw of string
-| SItoa of string
-| SCustom of string * string
-| SUnknown of string
+let set_err b e =
+  { b_pend = b.b_pend; b_n = b.b_n; b_err = (Some e); b_sink = b.b_sink }
 
-type cut = { c_lo : nat; c_hi : nat; c_field : string; c_conv : string list;
-             c_const : bytes option }
+(** val bw_flush : bw -> bw * werr option **)
 
-(** val mkcut : nat -> nat -> string -> string list -> cut **)
-
-let mkcut lo hi f conv =
-  { c_lo = lo; c_hi = hi; c_field = f; c_conv = conv; c_const = None }
-
-(** val mkconst : string -> bytes -> cut **)
-
-let mkconst f bs =
-  { c_lo = O; c_hi = O; c_field = f; c_conv = []; c_const = (Some bs) }
-
-type indexing =
-| IRune
-| IByte
-
-type layout = { l_name : string; l_ix : indexing; l_segs : seg list;
-                l_cuts : cut list }
-
-type value =
-| VS of bytes
-| VI of z
-
-type recval = (string * value) list
-
-(** val lookup : recval -> string -> value option **)
-
-let rec lookup r f =
-  match r with
-  | [] -> None
-  | p :: r' -> let (g, v) = p in if eqb1 f g then Some v else lookup r' f
-
-(** val gets : recval -> string -> bytes **)
-
-let gets r f =
-  match lookup r f with
-  | Some v -> (match v with
-               | VS s -> s
-               | VI _ -> [])
-  | None -> []
-
-(** val geti : recval -> string -> z **)
-
-let geti r f =
-  match lookup r f with
-  | Some v -> (match v with
-               | VS _ -> Z0
-               | VI z0 -> z0)
-  | None -> Z0
-
-(** val spaces : nat -> bytes **)
-
-let spaces n0 =
-  repeat sp n0
-
-(** val zeros : nat -> bytes **)
-
-let zeros n0 =
-  repeat zero n0
-
-(** val is_space : n -> bool **)
-
-let is_space r =
-  (||)
-    ((||)
-      ((||)
-        ((||)
-          ((||)
-            ((||)
-              ((||)
-                ((||)
-                  ((||)
-                    ((||)
-                      ((&&) (N.leb (Npos (XI (XO (XO XH)))) r)
-                        (N.leb r (Npos (XI (XO (XI XH))))))
-                      (N.eqb r (Npos (XO (XO (XO (XO (XO XH))))))))
-                    (N.eqb r (Npos (XI (XO (XI (XO (XO (XO (XO XH))))))))))
-                  (N.eqb r (Npos (XO (XO (XO (XO (XO (XI (XO XH))))))))))
-                (N.eqb r (Npos (XO (XO (XO (XO (XO (XO (XO (XI (XO (XI (XI
-                  (XO XH)))))))))))))))
-              ((&&)
-                (N.leb (Npos (XO (XO (XO (XO (XO (XO (XO (XO (XO (XO (XO (XO
-                  (XO XH)))))))))))))) r)
-                (N.leb r (Npos (XO (XI (XO (XI (XO (XO (XO (XO (XO (XO (XO
-                  (XO (XO XH)))))))))))))))))
-            (N.eqb r (Npos (XO (XO (XO (XI (XO (XI (XO (XO (XO (XO (XO (XO
-              (XO XH))))))))))))))))
-          (N.eqb r (Npos (XI (XO (XO (XI (XO (XI (XO (XO (XO (XO (XO (XO (XO
-            XH))))))))))))))))
-        (N.eqb r (Npos (XI (XI (XI (XI (XO (XI (XO (XO (XO (XO (XO (XO (XO
-          XH))))))))))))))))
-      (N.eqb r (Npos (XI (XI (XI (XI (XI (XO (XI (XO (XO (XO (XO (XO (XO
-        XH))))))))))))))))
-    (N.eqb r (Npos (XO (XO (XO (XO (XO (XO (XO (XO (XO (XO (XO (XO (XI
-      XH)))))))))))))))
-
-(** val drop_space : (n * bytes) list -> (n * bytes) list **)
-
-let rec drop_space cs = match cs with
-| [] -> []
-| p :: rest -> let (r, _) = p in if is_space r then drop_space rest else cs
-
-(** val trim : bytes -> bytes **)
-
-let trim s =
-  concat (map snd (rev (drop_space (rev (drop_space (chunks s))))))
-
-(** val rune_prefix : nat -> bytes -> bytes **)
-
-let rune_prefix w s =
-  encode (firstn w (runes s))
-
-(** val alphaField : bytes -> nat -> bytes **)
-
-let alphaField s w =
-  let n0 = rune_count s in
-  if Nat.ltb w n0 then rune_prefix w s else app s (spaces (sub w n0))
-
-(** val stringField : bytes -> nat -> bytes **)
-
-let stringField s w =
-  let n0 = rune_count s in
-  if Nat.ltb w n0 then rune_prefix w s else app (zeros (sub w n0)) s
-
-(** val digits_fuel : nat -> n -> bytes -> bytes **)
-
-let rec digits_fuel fuel n0 acc =
-  match fuel with
-  | O -> acc
-  | S k ->
-    if N.ltb n0 (Npos (XO (XI (XO XH))))
-    then (N.add (Npos (XO (XO (XO (XO (XI XH)))))) n0) :: acc
-    else digits_fuel k (N.div n0 (Npos (XO (XI (XO XH)))))
-           ((N.add (Npos (XO (XO (XO (XO (XI XH))))))
-              (N.modulo n0 (Npos (XO (XI (XO XH)))))) :: acc)
-
-(** val digits : n -> bytes **)
-
-let digits n0 =
-  digits_fuel (S (N.to_nat (N.log2 n0))) n0 []
-
-(** val itoa : z -> bytes **)
-
-let itoa = function
-| Z0 -> (Npos (XO (XO (XO (XO (XI XH)))))) :: []
-| Zpos p -> digits (Npos p)
-| Zneg p -> (Npos (XI (XO (XI (XI (XO XH)))))) :: (digits (Npos p))
-
-(** val numericField : z -> nat -> bytes **)
-
-let numericField z0 w =
-  let s = itoa z0 in
-  let l = length s in
-  if Nat.ltb w l then skipn (sub l w) s else app (zeros (sub w l)) s
-
-(** val is_digit : n -> bool **)
-
-let is_digit b =
-  (&&) (N.leb (Npos (XO (XO (XO (XO (XI XH)))))) b)
-    (N.leb b (Npos (XI (XO (XO (XI (XI XH)))))))
-
-(** val digits_val : bytes -> z -> z **)
-
-let rec digits_val s acc =
-  match s with
-  | [] -> acc
-  | b :: t ->
-    digits_val t
-      (Z.add (Z.mul acc (Zpos (XO (XI (XO XH)))))
-        (Z.of_N (N.sub b (Npos (XO (XO (XO (XO (XI XH)))))))))
-
-(** val max_int64 : z **)
-
-let max_int64 =
-  Zpos (XI (XI (XI (XI (XI (XI (XI (XI (XI (XI (XI (XI (XI (XI (XI (XI (XI
-    (XI (XI (XI (XI (XI (XI (XI (XI (XI (XI (XI (XI (XI (XI (XI (XI (XI (XI
-    (XI (XI (XI (XI (XI (XI (XI (XI (XI (XI (XI (XI (XI (XI (XI (XI (XI (XI
-    (XI (XI (XI (XI (XI (XI (XI (XI (XI
-    XH))))))))))))))))))))))))))))))))))))))))))))))))))))))))))))))
-
-(** val min_int64 : z **)
-
-let min_int64 =
-  Zneg (XO (XO (XO (XO (XO (XO (XO (XO (XO (XO (XO (XO (XO (XO (XO (XO (XO
-    (XO (XO (XO (XO (XO (XO (XO (XO (XO (XO (XO (XO (XO (XO (XO (XO (XO (XO
-    (XO (XO (XO (XO (XO (XO (XO (XO (XO (XO (XO (XO (XO (XO (XO (XO (XO (XO
-    (XO (XO (XO (XO (XO (XO (XO (XO (XO (XO
-    XH)))))))))))))))))))))))))))))))))))))))))))))))))))))))))))))))
-
-(** val atoi : bytes -> z **)
-
-let atoi s = match s with
-| [] ->
-  let neg = false in
-  (match s with
-   | [] -> Z0
-   | _ :: _ ->
-     if forallb is_digit s
-     then let v = digits_val s Z0 in
-          if neg
-          then if Z.leb min_int64 (Z.opp v) then Z.opp v else min_int64
-          else if Z.leb v max_int64 then v else max_int64
-     else Z0)
-| n0 :: t ->
-  (match n0 with
-   | N0 ->
-     let neg = false in
-     (match s with
-      | [] -> Z0
-      | _ :: _ ->
-        if forallb is_digit s
-        then let v = digits_val s Z0 in
-             if neg
-             then if Z.leb min_int64 (Z.opp v) then Z.opp v else min_int64
-             else if Z.leb v max_int64 then v else max_int64
-        else Z0)
-   | Npos p ->
-     (match p with
-      | XI p0 ->
-        (match p0 with
-         | XI p1 ->
-           (match p1 with
-            | XO p2 ->
-              (match p2 with
-               | XI p3 ->
-                 (match p3 with
-                  | XO p4 ->
-                    (match p4 with
-                     | XH ->
-                       let neg = false in
-                       (match t with
-                        | [] -> Z0
-                        | _ :: _ ->
-                          if forallb is_digit t
-                          then let v = digits_val t Z0 in
-                               if neg
-                               then if Z.leb min_int64 (Z.opp v)
-                                    then Z.opp v
-                                    else min_int64
-                               else if Z.leb v max_int64 then v else max_int64
-                          else Z0)
-                     | _ ->
-                       let neg = false in
-                       (match s with
-                        | [] -> Z0
-                        | _ :: _ ->
-                          if forallb is_digit s
-                          then let v = digits_val s Z0 in
-                               if neg
-                               then if Z.leb min_int64 (Z.opp v)
-                                    then Z.opp v
-                                    else min_int64
-                               else if Z.leb v max_int64 then v else max_int64
-                          else Z0))
-                  | _ ->
-                    let neg = false in
-                    (match s with
-                     | [] -> Z0
-                     | _ :: _ ->
-                       if forallb is_digit s
-                       then let v = digits_val s Z0 in
-                            if neg
-                            then if Z.leb min_int64 (Z.opp v)
-                                 then Z.opp v
-                                 else min_int64
-                            else if Z.leb v max_int64 then v else max_int64
-                       else Z0))
-               | _ ->
-                 let neg = false in
-                 (match s with
-                  | [] -> Z0
-                  | _ :: _ ->
-                    if forallb is_digit s
-                    then let v = digits_val s Z0 in
-                         if neg
-                         then if Z.leb min_int64 (Z.opp v)
-                              then Z.opp v
-                              else min_int64
-                         else if Z.leb v max_int64 then v else max_int64
-                    else Z0))
-            | _ ->
-              let neg = false in
-              (match s with
-               | [] -> Z0
-               | _ :: _ ->
-                 if forallb is_digit s
-                 then let v = digits_val s Z0 in
-                      if neg
-                      then if Z.leb min_int64 (Z.opp v)
-                           then Z.opp v
-                           else min_int64
-                      else if Z.leb v max_int64 then v else max_int64
-                 else Z0))
-         | XO p1 ->
-           (match p1 with
-            | XI p2 ->
-              (match p2 with
-               | XI p3 ->
-                 (match p3 with
-                  | XO p4 ->
-                    (match p4 with
-                     | XH ->
-                       let neg = true in
-                       (match t with
-                        | [] -> Z0
-                        | _ :: _ ->
-                          if forallb is_digit t
-                          then let v = digits_val t Z0 in
-                               if neg
-                               then if Z.leb min_int64 (Z.opp v)
-                                    then Z.opp v
-                                    else min_int64
-                               else if Z.leb v max_int64 then v else max_int64
-                          else Z0)
-                     | _ ->
-                       let neg = false in
-                       (match s with
-                        | [] -> Z0
-                        | _ :: _ ->
-                          if forallb is_digit s
-                          then let v = digits_val s Z0 in
-                               if neg
-                               then if Z.leb min_int64 (Z.opp v)
-                                    then Z.opp v
-                                    else min_int64
-                               else if Z.leb v max_int64 then v else max_int64
-                          else Z0))
-                  | _ ->
-                    let neg = false in
-                    (match s with
-                     | [] -> Z0
-                     | _ :: _ ->
-                       if forallb is_digit s
-                       then let v = digits_val s Z0 in
-                            if neg
-                            then if Z.leb min_int64 (Z.opp v)
-                                 then Z.opp v
-                                 else min_int64
-                            else if Z.leb v max_int64 then v else max_int64
-                       else Z0))
-               | _ ->
-                 let neg = false in
-                 (match s with
-                  | [] -> Z0
-                  | _ :: _ ->
-                    if forallb is_digit s
-                    then let v = digits_val s Z0 in
-                         if neg
-                         then if Z.leb min_int64 (Z.opp v)
-                              then Z.opp v
-                              else min_int64
-                         else if Z.leb v max_int64 then v else max_int64
-                    else Z0))
-            | _ ->
-              let neg = false in
-              (match s with
-               | [] -> Z0
-               | _ :: _ ->
-                 if forallb is_digit s
-                 then let v = digits_val s Z0 in
-                      if neg
-                      then if Z.leb min_int64 (Z.opp v)
-                           then Z.opp v
-                           else min_int64
-                      else if Z.leb v max_int64 then v else max_int64
-                 else Z0))
-         | XH ->
-           let neg = false in
-           (match s with
-            | [] -> Z0
-            | _ :: _ ->
-              if forallb is_digit s
-              then let v = digits_val s Z0 in
-                   if neg
-                   then if Z.leb min_int64 (Z.opp v)
-                        then Z.opp v
-                        else min_int64
-                   else if Z.leb v max_int64 then v else max_int64
-              else Z0))
-      | _ ->
-        let neg = false in
-        (match s with
-         | [] -> Z0
-         | _ :: _ ->
-           if forallb is_digit s
-           then let v = digits_val s Z0 in
-                if neg
-                then if Z.leb min_int64 (Z.opp v) then Z.opp v else min_int64
-                else if Z.leb v max_int64 then v else max_int64
-           else Z0)))
-
-(** val atoi_opt : bytes -> z option **)
-
-let atoi_opt s = match s with
-| [] ->
-  let neg = false in
-  (match s with
-   | [] -> None
-   | _ :: _ ->
-     if forallb is_digit s
-     then let v = digits_val s Z0 in
-          if neg
-          then if Z.leb min_int64 (Z.opp v) then Some (Z.opp v) else None
-          else if Z.leb v max_int64 then Some v else None
-     else None)
-| n0 :: t ->
-  (match n0 with
-   | N0 ->
-     let neg = false in
-     (match s with
-      | [] -> None
-      | _ :: _ ->
-        if forallb is_digit s
-        then let v = digits_val s Z0 in
-             if neg
-             then if Z.leb min_int64 (Z.opp v) then Some (Z.opp v) else None
-             else if Z.leb v max_int64 then Some v else None
-        else None)
-   | Npos p ->
-     (match p with
-      | XI p0 ->
-        (match p0 with
-         | XI p1 ->
-           (match p1 with
-            | XO p2 ->
-              (match p2 with
-               | XI p3 ->
-                 (match p3 with
-                  | XO p4 ->
-                    (match p4 with
-                     | XH ->
-                       let neg = false in
-                       (match t with
-                        | [] -> None
-                        | _ :: _ ->
-                          if forallb is_digit t
-                          then let v = digits_val t Z0 in
-                               if neg
-                               then if Z.leb min_int64 (Z.opp v)
-                                    then Some (Z.opp v)
-                                    else None
-                               else if Z.leb v max_int64 then Some v else None
-                          else None)
-                     | _ ->
-                       let neg = false in
-                       (match s with
-                        | [] -> None
-                        | _ :: _ ->
-                          if forallb is_digit s
-                          then let v = digits_val s Z0 in
-                               if neg
-                               then if Z.leb min_int64 (Z.opp v)
-                                    then Some (Z.opp v)
-                                    else None
-                               else if Z.leb v max_int64 then Some v else None
-                          else None))
-                  | _ ->
-                    let neg = false in
-                    (match s with
-                     | [] -> None
-                     | _ :: _ ->
-                       if forallb is_digit s
-                       then let v = digits_val s Z0 in
-                            if neg
-                            then if Z.leb min_int64 (Z.opp v)
-                                 then Some (Z.opp v)
-                                 else None
-                            else if Z.leb v max_int64 then Some v else None
-                       else None))
-               | _ ->
-                 let neg = false in
-                 (match s with
-                  | [] -> None
-                  | _ :: _ ->
-                    if forallb is_digit s
-                    then let v = digits_val s Z0 in
-                         if neg
-                         then if Z.leb min_int64 (Z.opp v)
-                              then Some (Z.opp v)
-                              else None
-                         else if Z.leb v max_int64 then Some v else None
-                    else None))
-            | _ ->
-              let neg = false in
-              (match s with
-               | [] -> None
-               | _ :: _ ->
-                 if forallb is_digit s
-                 then let v = digits_val s Z0 in
-                      if neg
-                      then if Z.leb min_int64 (Z.opp v)
-                           then Some (Z.opp v)
-                           else None
-                      else if Z.leb v max_int64 then Some v else None
-                 else None))
-         | XO p1 ->
-           (match p1 with
-            | XI p2 ->
-              (match p2 with
-               | XI p3 ->
-                 (match p3 with
-                  | XO p4 ->
-                    (match p4 with
-                     | XH ->
-                       let neg = true in
-                       (match t with
-                        | [] -> None
-                        | _ :: _ ->
-                          if forallb is_digit t
-                          then let v = digits_val t Z0 in
-                               if neg
-                               then if Z.leb min_int64 (Z.opp v)
-                                    then Some (Z.opp v)
-                                    else None
-                               else if Z.leb v max_int64 then Some v else None
-                          else None)
-                     | _ ->
-                       let neg = false in
-                       (match s with
-                        | [] -> None
-                        | _ :: _ ->
-                          if forallb is_digit s
-                          then let v = digits_val s Z0 in
-                               if neg
-                               then if Z.leb min_int64 (Z.opp v)
-                                    then Some (Z.opp v)
-                                    else None
-                               else if Z.leb v max_int64 then Some v else None
-                          else None))
-                  | _ ->
-                    let neg = false in
-                    (match s with
-                     | [] -> None
-                     | _ :: _ ->
-                       if forallb is_digit s
-                       then let v = digits_val s Z0 in
-                            if neg
-                            then if Z.leb min_int64 (Z.opp v)
-                                 then Some (Z.opp v)
-                                 else None
-                            else if Z.leb v max_int64 then Some v else None
-                       else None))
-               | _ ->
-                 let neg = false in
-                 (match s with
-                  | [] -> None
-                  | _ :: _ ->
-                    if forallb is_digit s
-                    then let v = digits_val s Z0 in
-                         if neg
-                         then if Z.leb min_int64 (Z.opp v)
-                              then Some (Z.opp v)
-                              else None
-                         else if Z.leb v max_int64 then Some v else None
-                    else None))
-            | _ ->
-              let neg = false in
-              (match s with
-               | [] -> None
-               | _ :: _ ->
-                 if forallb is_digit s
-                 then let v = digits_val s Z0 in
-                      if neg
-                      then if Z.leb min_int64 (Z.opp v)
-                           then Some (Z.opp v)
-                           else None
-                      else if Z.leb v max_int64 then Some v else None
-                 else None))
-         | XH ->
-           let neg = false in
-           (match s with
-            | [] -> None
-            | _ :: _ ->
-              if forallb is_digit s
-              then let v = digits_val s Z0 in
-                   if neg
-                   then if Z.leb min_int64 (Z.opp v)
-                        then Some (Z.opp v)
-                        else None
-                   else if Z.leb v max_int64 then Some v else None
-              else None))
-      | _ ->
-        let neg = false in
-        (match s with
-         | [] -> None
-         | _ :: _ ->
-           if forallb is_digit s
-           then let v = digits_val s Z0 in
-                if neg
-                then if Z.leb min_int64 (Z.opp v)
-                     then Some (Z.opp v)
-                     else None
-                else if Z.leb v max_int64 then Some v else None
-           else None)))
-
-(** val parseNumField : bytes -> z **)
-
-let parseNumField s =
-  atoi (trim s)
-
-(** val aUTOENROLL : bytes **)
-
-let aUTOENROLL =
-  (Npos (XI (XO (XO (XO (XO (XO XH))))))) :: ((Npos (XI (XO (XI (XO (XI (XO
-    XH))))))) :: ((Npos (XO (XO (XI (XO (XI (XO XH))))))) :: ((Npos (XI (XI
-    (XI (XI (XO (XO XH))))))) :: ((Npos (XI (XO (XI (XO (XO (XO
-    XH))))))) :: ((Npos (XO (XI (XI (XI (XO (XO XH))))))) :: ((Npos (XO (XI
-    (XO (XO (XI (XO XH))))))) :: ((Npos (XI (XI (XI (XI (XO (XO
-    XH))))))) :: ((Npos (XO (XO (XI (XI (XO (XO XH))))))) :: ((Npos (XO (XO
-    (XI (XI (XO (XO XH))))))) :: [])))))))))
-
-(** val eNR : bytes **)
-
-let eNR =
-  (Npos (XI (XO (XI (XO (XO (XO XH))))))) :: ((Npos (XO (XI (XI (XI (XO (XO
-    XH))))))) :: ((Npos (XO (XI (XO (XO (XI (XO XH))))))) :: []))
-
-(** val render_custom : string -> recval -> bytes option **)
-
-let render_custom name r =
-  if eqb1 name (String ((Ascii (true, false, false, false, false, false,
-       true, false)), (String ((Ascii (false, false, true, false, false,
-       true, true, false)), (String ((Ascii (false, false, true, false,
-       false, true, true, false)), (String ((Ascii (true, false, true, false,
-       false, true, true, false)), (String ((Ascii (false, true, true, true,
-       false, true, true, false)), (String ((Ascii (false, false, true,
-       false, false, true, true, false)), (String ((Ascii (true, false,
-       false, false, false, true, true, false)), (String ((Ascii (true,
-       false, false, true, true, true, false, false)), (String ((Ascii (true,
-       false, false, true, true, true, false, false)), (String ((Ascii
-       (false, true, true, true, false, true, false, false)), (String ((Ascii
-       (false, false, true, false, false, false, true, false)), (String
-       ((Ascii (true, false, false, false, false, true, true, false)),
-       (String ((Ascii (false, false, true, false, true, true, true, false)),
-       (String ((Ascii (true, false, true, false, false, true, true, false)),
-       (String ((Ascii (true, true, true, true, false, false, true, false)),
-       (String ((Ascii (false, true, true, false, false, true, true, false)),
-       (String ((Ascii (false, false, true, false, false, false, true,
-       false)), (String ((Ascii (true, false, true, false, false, true, true,
-       false)), (String ((Ascii (true, false, false, false, false, true,
-       true, false)), (String ((Ascii (false, false, true, false, true, true,
-       true, false)), (String ((Ascii (false, false, false, true, false,
-       true, true, false)), (String ((Ascii (false, true, true, false, false,
-       false, true, false)), (String ((Ascii (true, false, false, true,
-       false, true, true, false)), (String ((Ascii (true, false, true, false,
-       false, true, true, false)), (String ((Ascii (false, false, true, true,
-       false, true, true, false)), (String ((Ascii (false, false, true,
-       false, false, true, true, false)),
-       EmptyString))))))))))))))))))))))))))))))))))))))))))))))))))))
-  then Some
-         (match gets r (String ((Ascii (false, false, true, false, false,
-                  false, true, false)), (String ((Ascii (true, false, false,
-                  false, false, true, true, false)), (String ((Ascii (false,
-                  false, true, false, true, true, true, false)), (String
-                  ((Ascii (true, false, true, false, false, true, true,
-                  false)), (String ((Ascii (true, true, true, true, false,
-                  false, true, false)), (String ((Ascii (false, true, true,
-                  false, false, true, true, false)), (String ((Ascii (false,
-                  false, true, false, false, false, true, false)), (String
-                  ((Ascii (true, false, true, false, false, true, true,
-                  false)), (String ((Ascii (true, false, false, false, false,
-                  true, true, false)), (String ((Ascii (false, false, true,
-                  false, true, true, true, false)), (String ((Ascii (false,
-                  false, false, true, false, true, true, false)),
-                  EmptyString)))))))))))))))))))))) with
-          | [] -> spaces (S (S (S (S (S (S O))))))
-          | n0 :: l -> n0 :: l)
-  else if eqb1 name (String ((Ascii (false, true, false, false, false, false,
-            true, false)), (String ((Ascii (true, false, false, false, false,
-            true, true, false)), (String ((Ascii (false, false, true, false,
-            true, true, true, false)), (String ((Ascii (true, true, false,
-            false, false, true, true, false)), (String ((Ascii (false, false,
-            false, true, false, true, true, false)), (String ((Ascii (false,
-            false, false, true, false, false, true, false)), (String ((Ascii
-            (true, false, true, false, false, true, true, false)), (String
-            ((Ascii (true, false, false, false, false, true, true, false)),
-            (String ((Ascii (false, false, true, false, false, true, true,
-            false)), (String ((Ascii (true, false, true, false, false, true,
-            true, false)), (String ((Ascii (false, true, false, false, true,
-            true, true, false)), (String ((Ascii (false, true, true, true,
-            false, true, false, false)), (String ((Ascii (true, false, true,
-            false, false, false, true, false)), (String ((Ascii (false, true,
-            true, false, false, true, true, false)), (String ((Ascii (false,
-            true, true, false, false, true, true, false)), (String ((Ascii
-            (true, false, true, false, false, true, true, false)), (String
-            ((Ascii (true, true, false, false, false, true, true, false)),
-            (String ((Ascii (false, false, true, false, true, true, true,
-            false)), (String ((Ascii (true, false, false, true, false, true,
-            true, false)), (String ((Ascii (false, true, true, false, true,
-            true, true, false)), (String ((Ascii (true, false, true, false,
-            false, true, true, false)), (String ((Ascii (true, false, true,
-            false, false, false, true, false)), (String ((Ascii (false, true,
-            true, true, false, true, true, false)), (String ((Ascii (false,
-            false, true, false, true, true, true, false)), (String ((Ascii
-            (false, true, false, false, true, true, true, false)), (String
-            ((Ascii (true, false, false, true, true, true, true, false)),
-            (String ((Ascii (false, false, true, false, false, false, true,
-            false)), (String ((Ascii (true, false, false, false, false, true,
-            true, false)), (String ((Ascii (false, false, true, false, true,
-            true, true, false)), (String ((Ascii (true, false, true, false,
-            false, true, true, false)), (String ((Ascii (false, true, true,
-            false, false, false, true, false)), (String ((Ascii (true, false,
-            false, true, false, true, true, false)), (String ((Ascii (true,
-            false, true, false, false, true, true, false)), (String ((Ascii
-            (false, false, true, true, false, true, true, false)), (String
-            ((Ascii (false, false, true, false, false, true, true, false)),
-            EmptyString))))))))))))))))))))))))))))))))))))))))))))))))))))))))))))))))))))))
-       then Some
-              (if (&&)
-                    (bytes_eqb
-                      (gets r (String ((Ascii (true, true, false, false,
-                        false, false, true, false)), (String ((Ascii (true,
-                        true, true, true, false, true, true, false)), (String
-                        ((Ascii (true, false, true, true, false, true, true,
-                        false)), (String ((Ascii (false, false, false, false,
-                        true, true, true, false)), (String ((Ascii (true,
-                        false, false, false, false, true, true, false)),
-                        (String ((Ascii (false, true, true, true, false,
-                        true, true, false)), (String ((Ascii (true, false,
-                        false, true, true, true, true, false)), (String
-                        ((Ascii (true, false, true, false, false, false,
-                        true, false)), (String ((Ascii (false, true, true,
-                        true, false, true, true, false)), (String ((Ascii
-                        (false, false, true, false, true, true, true,
-                        false)), (String ((Ascii (false, true, false, false,
-                        true, true, true, false)), (String ((Ascii (true,
-                        false, false, true, true, true, true, false)),
-                        (String ((Ascii (false, false, true, false, false,
-                        false, true, false)), (String ((Ascii (true, false,
-                        true, false, false, true, true, false)), (String
-                        ((Ascii (true, true, false, false, true, true, true,
-                        false)), (String ((Ascii (true, true, false, false,
-                        false, true, true, false)), (String ((Ascii (false,
-                        true, false, false, true, true, true, false)),
-                        (String ((Ascii (true, false, false, true, false,
-                        true, true, false)), (String ((Ascii (false, false,
-                        false, false, true, true, true, false)), (String
-                        ((Ascii (false, false, true, false, true, true, true,
-                        false)), (String ((Ascii (true, false, false, true,
-                        false, true, true, false)), (String ((Ascii (true,
-                        true, true, true, false, true, true, false)), (String
-                        ((Ascii (false, true, true, true, false, true, true,
-                        false)),
-                        EmptyString)))))))))))))))))))))))))))))))))))))))))))))))
-                      aUTOENROLL)
-                    (bytes_eqb
-                      (gets r (String ((Ascii (true, true, false, false,
-                        true, false, true, false)), (String ((Ascii (false,
-                        false, true, false, true, true, true, false)),
-                        (String ((Ascii (true, false, false, false, false,
-                        true, true, false)), (String ((Ascii (false, true,
-                        true, true, false, true, true, false)), (String
-                        ((Ascii (false, false, true, false, false, true,
-                        true, false)), (String ((Ascii (true, false, false,
-                        false, false, true, true, false)), (String ((Ascii
-                        (false, true, false, false, true, true, true,
-                        false)), (String ((Ascii (false, false, true, false,
-                        false, true, true, false)), (String ((Ascii (true,
-                        false, true, false, false, false, true, false)),
-                        (String ((Ascii (false, true, true, true, false,
-                        true, true, false)), (String ((Ascii (false, false,
-                        true, false, true, true, true, false)), (String
-                        ((Ascii (false, true, false, false, true, true, true,
-                        false)), (String ((Ascii (true, false, false, true,
-                        true, true, true, false)), (String ((Ascii (true,
-                        true, false, false, false, false, true, false)),
-                        (String ((Ascii (false, false, true, true, false,
-                        true, true, false)), (String ((Ascii (true, false,
-                        false, false, false, true, true, false)), (String
-                        ((Ascii (true, true, false, false, true, true, true,
-                        false)), (String ((Ascii (true, true, false, false,
-                        true, true, true, false)), (String ((Ascii (true,
-                        true, false, false, false, false, true, false)),
-                        (String ((Ascii (true, true, true, true, false, true,
-                        true, false)), (String ((Ascii (false, false, true,
-                        false, false, true, true, false)), (String ((Ascii
-                        (true, false, true, false, false, true, true,
-                        false)),
-                        EmptyString)))))))))))))))))))))))))))))))))))))))))))))
-                      eNR)
-               then spaces (S (S (S (S (S (S O))))))
-               else stringField
-                      (gets r (String ((Ascii (true, false, true, false,
-                        false, false, true, false)), (String ((Ascii (false,
-                        true, true, false, false, true, true, false)),
-                        (String ((Ascii (false, true, true, false, false,
-                        true, true, false)), (String ((Ascii (true, false,
-                        true, false, false, true, true, false)), (String
-                        ((Ascii (true, true, false, false, false, true, true,
-                        false)), (String ((Ascii (false, false, true, false,
-                        true, true, true, false)), (String ((Ascii (true,
-                        false, false, true, false, true, true, false)),
-                        (String ((Ascii (false, true, true, false, true,
-                        true, true, false)), (String ((Ascii (true, false,
-                        true, false, false, true, true, false)), (String
-                        ((Ascii (true, false, true, false, false, false,
-                        true, false)), (String ((Ascii (false, true, true,
-                        true, false, true, true, false)), (String ((Ascii
-                        (false, false, true, false, true, true, true,
-                        false)), (String ((Ascii (false, true, false, false,
-                        true, true, true, false)), (String ((Ascii (true,
-                        false, false, true, true, true, true, false)),
-                        (String ((Ascii (false, false, true, false, false,
-                        false, true, false)), (String ((Ascii (true, false,
-                        false, false, false, true, true, false)), (String
-                        ((Ascii (false, false, true, false, true, true, true,
-                        false)), (String ((Ascii (true, false, true, false,
-                        false, true, true, false)),
-                        EmptyString))))))))))))))))))))))))))))))))))))) (S
-                      (S (S (S (S (S O)))))))
-       else if eqb1 name (String ((Ascii (false, true, true, false, false,
-                 false, true, false)), (String ((Ascii (true, false, false,
-                 true, false, true, true, false)), (String ((Ascii (false,
-                 false, true, true, false, true, true, false)), (String
-                 ((Ascii (true, false, true, false, false, true, true,
-                 false)), (String ((Ascii (false, false, false, true, false,
-                 false, true, false)), (String ((Ascii (true, false, true,
-                 false, false, true, true, false)), (String ((Ascii (true,
-                 false, false, false, false, true, true, false)), (String
-                 ((Ascii (false, false, true, false, false, true, true,
-                 false)), (String ((Ascii (true, false, true, false, false,
-                 true, true, false)), (String ((Ascii (false, true, false,
-                 false, true, true, true, false)), (String ((Ascii (false,
-                 true, true, true, false, true, false, false)), (String
-                 ((Ascii (true, false, false, true, false, false, true,
-                 false)), (String ((Ascii (true, false, true, true, false,
-                 true, true, false)), (String ((Ascii (true, false, true,
-                 true, false, true, true, false)), (String ((Ascii (true,
-                 false, true, false, false, true, true, false)), (String
-                 ((Ascii (false, false, true, false, false, true, true,
-                 false)), (String ((Ascii (true, false, false, true, false,
-                 true, true, false)), (String ((Ascii (true, false, false,
-                 false, false, true, true, false)), (String ((Ascii (false,
-                 false, true, false, true, true, true, false)), (String
-                 ((Ascii (true, false, true, false, false, true, true,
-                 false)), (String ((Ascii (false, false, true, false, false,
-                 false, true, false)), (String ((Ascii (true, false, true,
-                 false, false, true, true, false)), (String ((Ascii (true,
-                 true, false, false, true, true, true, false)), (String
-                 ((Ascii (false, false, true, false, true, true, true,
-                 false)), (String ((Ascii (true, false, false, true, false,
-                 true, true, false)), (String ((Ascii (false, true, true,
-                 true, false, true, true, false)), (String ((Ascii (true,
-                 false, false, false, false, true, true, false)), (String
-                 ((Ascii (false, false, true, false, true, true, true,
-                 false)), (String ((Ascii (true, false, false, true, false,
-                 true, true, false)), (String ((Ascii (true, true, true,
-                 true, false, true, true, false)), (String ((Ascii (false,
-                 true, true, true, false, true, true, false)), (String
-                 ((Ascii (false, true, true, false, false, false, true,
-                 false)), (String ((Ascii (true, false, false, true, false,
-                 true, true, false)), (String ((Ascii (true, false, true,
-                 false, false, true, true, false)), (String ((Ascii (false,
-                 false, true, true, false, true, true, false)), (String
-                 ((Ascii (false, false, true, false, false, true, true,
-                 false)),
-                 EmptyString))))))))))))))))))))))))))))))))))))))))))))))))))))))))))))))))))))))))
-            then Some
-                   (match gets r (String ((Ascii (true, false, false, true,
-                            false, false, true, false)), (String ((Ascii
-                            (true, false, true, true, false, true, true,
-                            false)), (String ((Ascii (true, false, true,
-                            true, false, true, true, false)), (String ((Ascii
-                            (true, false, true, false, false, true, true,
-                            false)), (String ((Ascii (false, false, true,
-                            false, false, true, true, false)), (String
-                            ((Ascii (true, false, false, true, false, true,
-                            true, false)), (String ((Ascii (true, false,
-                            false, false, false, true, true, false)), (String
-                            ((Ascii (false, false, true, false, true, true,
-                            true, false)), (String ((Ascii (true, false,
-                            true, false, false, true, true, false)), (String
-                            ((Ascii (false, false, true, false, false, false,
-                            true, false)), (String ((Ascii (true, false,
-                            true, false, false, true, true, false)), (String
-                            ((Ascii (true, true, false, false, true, true,
-                            true, false)), (String ((Ascii (false, false,
-                            true, false, true, true, true, false)), (String
-                            ((Ascii (true, false, false, true, false, true,
-                            true, false)), (String ((Ascii (false, true,
-                            true, true, false, true, true, false)), (String
-                            ((Ascii (true, false, false, false, false, true,
-                            true, false)), (String ((Ascii (false, false,
-                            true, false, true, true, true, false)), (String
-                            ((Ascii (true, false, false, true, false, true,
-                            true, false)), (String ((Ascii (true, true, true,
-                            true, false, true, true, false)), (String ((Ascii
-                            (false, true, true, true, false, true, true,
-                            false)),
-                            EmptyString)))))))))))))))))))))))))))))))))))))))) with
-                    | [] -> spaces (S (S (S (S (S (S (S (S (S (S O))))))))))
-                    | n0 :: l ->
-                      sp :: (stringField (trim (n0 :: l)) (S (S (S (S (S (S
-                              (S (S (S O)))))))))))
-            else if eqb1 name (String ((Ascii (false, true, true, false,
-                      false, false, true, false)), (String ((Ascii (true,
-                      false, false, true, false, true, true, false)), (String
-                      ((Ascii (false, false, true, true, false, true, true,
-                      false)), (String ((Ascii (true, false, true, false,
-                      false, true, true, false)), (String ((Ascii (false,
-                      false, false, true, false, false, true, false)),
-                      (String ((Ascii (true, false, true, false, false, true,
-                      true, false)), (String ((Ascii (true, false, false,
-                      false, false, true, true, false)), (String ((Ascii
-                      (false, false, true, false, false, true, true, false)),
-                      (String ((Ascii (true, false, true, false, false, true,
-                      true, false)), (String ((Ascii (false, true, false,
-                      false, true, true, true, false)), (String ((Ascii
-                      (false, true, true, true, false, true, false, false)),
-                      (String ((Ascii (true, false, false, true, false,
-                      false, true, false)), (String ((Ascii (true, false,
-                      true, true, false, true, true, false)), (String ((Ascii
-                      (true, false, true, true, false, true, true, false)),
-                      (String ((Ascii (true, false, true, false, false, true,
-                      true, false)), (String ((Ascii (false, false, true,
-                      false, false, true, true, false)), (String ((Ascii
-                      (true, false, false, true, false, true, true, false)),
-                      (String ((Ascii (true, false, false, false, false,
-                      true, true, false)), (String ((Ascii (false, false,
-                      true, false, true, true, true, false)), (String ((Ascii
-                      (true, false, true, false, false, true, true, false)),
-                      (String ((Ascii (true, true, true, true, false, false,
-                      true, false)), (String ((Ascii (false, true, false,
-                      false, true, true, true, false)), (String ((Ascii
-                      (true, false, false, true, false, true, true, false)),
-                      (String ((Ascii (true, true, true, false, false, true,
-                      true, false)), (String ((Ascii (true, false, false,
-                      true, false, true, true, false)), (String ((Ascii
-                      (false, true, true, true, false, true, true, false)),
-                      (String ((Ascii (false, true, true, false, false,
-                      false, true, false)), (String ((Ascii (true, false,
-                      false, true, false, true, true, false)), (String
-                      ((Ascii (true, false, true, false, false, true, true,
-                      false)), (String ((Ascii (false, false, true, true,
-                      false, true, true, false)), (String ((Ascii (false,
-                      false, true, false, false, true, true, false)),
-                      EmptyString))))))))))))))))))))))))))))))))))))))))))))))))))))))))))))))
-                 then Some
-                        (match gets r (String ((Ascii (true, false, false,
-                                 true, false, false, true, false)), (String
-                                 ((Ascii (true, false, true, true, false,
-                                 true, true, false)), (String ((Ascii (true,
-                                 false, true, true, false, true, true,
-                                 false)), (String ((Ascii (true, false, true,
-                                 false, false, true, true, false)), (String
-                                 ((Ascii (false, false, true, false, false,
-                                 true, true, false)), (String ((Ascii (true,
-                                 false, false, true, false, true, true,
-                                 false)), (String ((Ascii (true, false,
-                                 false, false, false, true, true, false)),
-                                 (String ((Ascii (false, false, true, false,
-                                 true, true, true, false)), (String ((Ascii
-                                 (true, false, true, false, false, true,
-                                 true, false)), (String ((Ascii (true, true,
-                                 true, true, false, false, true, false)),
-                                 (String ((Ascii (false, true, false, false,
-                                 true, true, true, false)), (String ((Ascii
-                                 (true, false, false, true, false, true,
-                                 true, false)), (String ((Ascii (true, true,
-                                 true, false, false, true, true, false)),
-                                 (String ((Ascii (true, false, false, true,
-                                 false, true, true, false)), (String ((Ascii
-                                 (false, true, true, true, false, true, true,
-                                 false)),
-                                 EmptyString)))))))))))))))))))))))))))))) with
-                         | [] ->
-                           spaces (S (S (S (S (S (S (S (S (S (S O))))))))))
-                         | n0 :: l ->
-                           sp :: (stringField (trim (n0 :: l)) (S (S (S (S (S
-                                   (S (S (S (S O)))))))))))
-                 else if eqb1 name (String ((Ascii (false, true, true, false,
-                           false, false, true, false)), (String ((Ascii
-                           (true, false, false, true, false, true, true,
-                           false)), (String ((Ascii (false, false, true,
-                           true, false, true, true, false)), (String ((Ascii
-                           (true, false, true, false, false, true, true,
-                           false)), (String ((Ascii (false, false, false,
-                           true, false, false, true, false)), (String ((Ascii
-                           (true, false, true, false, false, true, true,
-                           false)), (String ((Ascii (true, false, false,
-                           false, false, true, true, false)), (String ((Ascii
-                           (false, false, true, false, false, true, true,
-                           false)), (String ((Ascii (true, false, true,
-                           false, false, true, true, false)), (String ((Ascii
-                           (false, true, false, false, true, true, true,
-                           false)), (String ((Ascii (false, true, true, true,
-                           false, true, false, false)), (String ((Ascii
-                           (false, true, true, false, false, false, true,
-                           false)), (String ((Ascii (true, false, false,
-                           true, false, true, true, false)), (String ((Ascii
-                           (false, false, true, true, false, true, true,
-                           false)), (String ((Ascii (true, false, true,
-                           false, false, true, true, false)), (String ((Ascii
-                           (true, true, false, false, false, false, true,
-                           false)), (String ((Ascii (false, true, false,
-                           false, true, true, true, false)), (String ((Ascii
-                           (true, false, true, false, false, true, true,
-                           false)), (String ((Ascii (true, false, false,
-                           false, false, true, true, false)), (String ((Ascii
-                           (false, false, true, false, true, true, true,
-                           false)), (String ((Ascii (true, false, false,
-                           true, false, true, true, false)), (String ((Ascii
-                           (true, true, true, true, false, true, true,
-                           false)), (String ((Ascii (false, true, true, true,
-                           false, true, true, false)), (String ((Ascii
-                           (false, false, true, false, false, false, true,
-                           false)), (String ((Ascii (true, false, false,
-                           false, false, true, true, false)), (String ((Ascii
-                           (false, false, true, false, true, true, true,
-                           false)), (String ((Ascii (true, false, true,
-                           false, false, true, true, false)), (String ((Ascii
-                           (false, true, true, false, false, false, true,
-                           false)), (String ((Ascii (true, false, false,
-                           true, false, true, true, false)), (String ((Ascii
-                           (true, false, true, false, false, true, true,
-                           false)), (String ((Ascii (false, false, true,
-                           true, false, true, true, false)), (String ((Ascii
-                           (false, false, true, false, false, true, true,
-                           false)),
-                           EmptyString))))))))))))))))))))))))))))))))))))))))))))))))))))))))))))))))
-                      then if Nat.eqb
-                                (rune_count
-                                  (gets r (String ((Ascii (false, true, true,
-                                    false, false, false, true, false)),
-                                    (String ((Ascii (true, false, false,
-                                    true, false, true, true, false)), (String
-                                    ((Ascii (false, false, true, true, false,
-                                    true, true, false)), (String ((Ascii
-                                    (true, false, true, false, false, true,
-                                    true, false)), (String ((Ascii (true,
-                                    true, false, false, false, false, true,
-                                    false)), (String ((Ascii (false, true,
-                                    false, false, true, true, true, false)),
-                                    (String ((Ascii (true, false, true,
-                                    false, false, true, true, false)),
-                                    (String ((Ascii (true, false, false,
-                                    false, false, true, true, false)),
-                                    (String ((Ascii (false, false, true,
-                                    false, true, true, true, false)), (String
-                                    ((Ascii (true, false, false, true, false,
-                                    true, true, false)), (String ((Ascii
-                                    (true, true, true, true, false, true,
-                                    true, false)), (String ((Ascii (false,
-                                    true, true, true, false, true, true,
-                                    false)), (String ((Ascii (false, false,
-                                    true, false, false, false, true, false)),
-                                    (String ((Ascii (true, false, false,
-                                    false, false, true, true, false)),
-                                    (String ((Ascii (false, false, true,
-                                    false, true, true, true, false)), (String
-                                    ((Ascii (true, false, true, false, false,
-                                    true, true, false)),
-                                    EmptyString))))))))))))))))))))))))))))))))))
-                                (S (S (S (S (S (S O))))))
-                           then Some
-                                  (gets r (String ((Ascii (false, true, true,
-                                    false, false, false, true, false)),
-                                    (String ((Ascii (true, false, false,
-                                    true, false, true, true, false)), (String
-                                    ((Ascii (false, false, true, true, false,
-                                    true, true, false)), (String ((Ascii
-                                    (true, false, true, false, false, true,
-                                    true, false)), (String ((Ascii (true,
-                                    true, false, false, false, false, true,
-                                    false)), (String ((Ascii (false, true,
-                                    false, false, true, true, true, false)),
-                                    (String ((Ascii (true, false, true,
-                                    false, false, true, true, false)),
-                                    (String ((Ascii (true, false, false,
-                                    false, false, true, true, false)),
-                                    (String ((Ascii (false, false, true,
-                                    false, true, true, true, false)), (String
-                                    ((Ascii (true, false, false, true, false,
-                                    true, true, false)), (String ((Ascii
-                                    (true, true, true, true, false, true,
-                                    true, false)), (String ((Ascii (false,
-                                    true, true, true, false, true, true,
-                                    false)), (String ((Ascii (false, false,
-                                    true, false, false, false, true, false)),
-                                    (String ((Ascii (true, false, false,
-                                    false, false, true, true, false)),
-                                    (String ((Ascii (false, false, true,
-                                    false, true, true, true, false)), (String
-                                    ((Ascii (true, false, true, false, false,
-                                    true, true, false)),
-                                    EmptyString)))))))))))))))))))))))))))))))))
-                           else None
-                      else if eqb1 name (String ((Ascii (false, true, true,
-                                false, false, false, true, false)), (String
-                                ((Ascii (true, false, false, true, false,
-                                true, true, false)), (String ((Ascii (false,
-                                false, true, true, false, true, true,
-                                false)), (String ((Ascii (true, false, true,
-                                false, false, true, true, false)), (String
-                                ((Ascii (false, false, false, true, false,
-                                false, true, false)), (String ((Ascii (true,
-                                false, true, false, false, true, true,
-                                false)), (String ((Ascii (true, false, false,
-                                false, false, true, true, false)), (String
-                                ((Ascii (false, false, true, false, false,
-                                true, true, false)), (String ((Ascii (true,
-                                false, true, false, false, true, true,
-                                false)), (String ((Ascii (false, true, false,
-                                false, true, true, true, false)), (String
-                                ((Ascii (false, true, true, true, false,
-                                true, false, false)), (String ((Ascii (false,
-                                true, true, false, false, false, true,
-                                false)), (String ((Ascii (true, false, false,
-                                true, false, true, true, false)), (String
-                                ((Ascii (false, false, true, true, false,
-                                true, true, false)), (String ((Ascii (true,
-                                false, true, false, false, true, true,
-                                false)), (String ((Ascii (true, true, false,
-                                false, false, false, true, false)), (String
-                                ((Ascii (false, true, false, false, true,
-                                true, true, false)), (String ((Ascii (true,
-                                false, true, false, false, true, true,
-                                false)), (String ((Ascii (true, false, false,
-                                false, false, true, true, false)), (String
-                                ((Ascii (false, false, true, false, true,
-                                true, true, false)), (String ((Ascii (true,
-                                false, false, true, false, true, true,
-                                false)), (String ((Ascii (true, true, true,
-                                true, false, true, true, false)), (String
-                                ((Ascii (false, true, true, true, false,
-                                true, true, false)), (String ((Ascii (false,
-                                false, true, false, true, false, true,
-                                false)), (String ((Ascii (true, false, false,
-                                true, false, true, true, false)), (String
-                                ((Ascii (true, false, true, true, false,
-                                true, true, false)), (String ((Ascii (true,
-                                false, true, false, false, true, true,
-                                false)), (String ((Ascii (false, true, true,
-                                false, false, false, true, false)), (String
-                                ((Ascii (true, false, false, true, false,
-                                true, true, false)), (String ((Ascii (true,
-                                false, true, false, false, true, true,
-                                false)), (String ((Ascii (false, false, true,
-                                true, false, true, true, false)), (String
-                                ((Ascii (false, false, true, false, false,
-                                true, true, false)),
-                                EmptyString))))))))))))))))))))))))))))))))))))))))))))))))))))))))))))))))
-                           then if Nat.eqb
-                                     (rune_count
-                                       (gets r (String ((Ascii (false, true,
-                                         true, false, false, false, true,
-                                         false)), (String ((Ascii (true,
-                                         false, false, true, false, true,
-                                         true, false)), (String ((Ascii
-                                         (false, false, true, true, false,
-                                         true, true, false)), (String ((Ascii
-                                         (true, false, true, false, false,
-                                         true, true, false)), (String ((Ascii
-                                         (true, true, false, false, false,
-                                         false, true, false)), (String
-                                         ((Ascii (false, true, false, false,
-                                         true, true, true, false)), (String
-                                         ((Ascii (true, false, true, false,
-                                         false, true, true, false)), (String
-                                         ((Ascii (true, false, false, false,
-                                         false, true, true, false)), (String
-                                         ((Ascii (false, false, true, false,
-                                         true, true, true, false)), (String
-                                         ((Ascii (true, false, false, true,
-                                         false, true, true, false)), (String
-                                         ((Ascii (true, true, true, true,
-                                         false, true, true, false)), (String
-                                         ((Ascii (false, true, true, true,
-                                         false, true, true, false)), (String
-                                         ((Ascii (false, false, true, false,
-                                         true, false, true, false)), (String
-                                         ((Ascii (true, false, false, true,
-                                         false, true, true, false)), (String
-                                         ((Ascii (true, false, true, true,
-                                         false, true, true, false)), (String
-                                         ((Ascii (true, false, true, false,
-                                         false, true, true, false)),
-                                         EmptyString))))))))))))))))))))))))))))))))))
-                                     (S (S (S (S O))))
-                                then Some
-                                       (gets r (String ((Ascii (false, true,
-                                         true, false, false, false, true,
-                                         false)), (String ((Ascii (true,
-                                         false, false, true, false, true,
-                                         true, false)), (String ((Ascii
-                                         (false, false, true, true, false,
-                                         true, true, false)), (String ((Ascii
-                                         (true, false, true, false, false,
-                                         true, true, false)), (String ((Ascii
-                                         (true, true, false, false, false,
-                                         false, true, false)), (String
-                                         ((Ascii (false, true, false, false,
-                                         true, true, true, false)), (String
-                                         ((Ascii (true, false, true, false,
-                                         false, true, true, false)), (String
-                                         ((Ascii (true, false, false, false,
-                                         false, true, true, false)), (String
-                                         ((Ascii (false, false, true, false,
-                                         true, true, true, false)), (String
-                                         ((Ascii (true, false, false, true,
-                                         false, true, true, false)), (String
-                                         ((Ascii (true, true, true, true,
-                                         false, true, true, false)), (String
-                                         ((Ascii (false, true, true, true,
-                                         false, true, true, false)), (String
-                                         ((Ascii (false, false, true, false,
-                                         true, false, true, false)), (String
-                                         ((Ascii (true, false, false, true,
-                                         false, true, true, false)), (String
-                                         ((Ascii (true, false, true, true,
-                                         false, true, true, false)), (String
-                                         ((Ascii (true, false, true, false,
-                                         false, true, true, false)),
-                                         EmptyString)))))))))))))))))))))))))))))))))
-                                else None
-                           else if eqb1 name (String ((Ascii (true, false,
-                                     false, true, false, false, true,
-                                     false)), (String ((Ascii (true, false,
-                                     false, false, false, false, true,
-                                     false)), (String ((Ascii (false, false,
-                                     true, false, true, false, true, false)),
-                                     (String ((Ascii (false, true, false,
-                                     false, false, false, true, false)),
-                                     (String ((Ascii (true, false, false,
-                                     false, false, true, true, false)),
-                                     (String ((Ascii (false, false, true,
-                                     false, true, true, true, false)),
-                                     (String ((Ascii (true, true, false,
-                                     false, false, true, true, false)),
-                                     (String ((Ascii (false, false, false,
-                                     true, false, true, true, false)),
-                                     (String ((Ascii (false, false, false,
-                                     true, false, false, true, false)),
-                                     (String ((Ascii (true, false, true,
-                                     false, false, true, true, false)),
-                                     (String ((Ascii (true, false, false,
-                                     false, false, true, true, false)),
-                                     (String ((Ascii (false, false, true,
-                                     false, false, true, true, false)),
-                                     (String ((Ascii (true, false, true,
-                                     false, false, true, true, false)),
-                                     (String ((Ascii (false, true, false,
-                                     false, true, true, true, false)),
-                                     (String ((Ascii (false, true, true,
-                                     true, false, true, false, false)),
-                                     (String ((Ascii (false, true, true,
-                                     false, false, false, true, false)),
-                                     (String ((Ascii (true, true, true, true,
-                                     false, true, true, false)), (String
-                                     ((Ascii (false, true, false, false,
-                                     true, true, true, false)), (String
-                                     ((Ascii (true, false, true, false,
-                                     false, true, true, false)), (String
-                                     ((Ascii (true, false, false, true,
-                                     false, true, true, false)), (String
-                                     ((Ascii (true, true, true, false, false,
-                                     true, true, false)), (String ((Ascii
-                                     (false, true, true, true, false, true,
-                                     true, false)), (String ((Ascii (true,
-                                     false, true, false, false, false, true,
-                                     false)), (String ((Ascii (false, false,
-                                     false, true, true, true, true, false)),
-                                     (String ((Ascii (true, true, false,
-                                     false, false, true, true, false)),
-                                     (String ((Ascii (false, false, false,
-                                     true, false, true, true, false)),
-                                     (String ((Ascii (true, false, false,
-                                     false, false, true, true, false)),
-                                     (String ((Ascii (false, true, true,
-                                     true, false, true, true, false)),
-                                     (String ((Ascii (true, true, true,
-                                     false, false, true, true, false)),
-                                     (String ((Ascii (true, false, true,
-                                     false, false, true, true, false)),
-                                     (String ((Ascii (false, true, false,
-                                     false, true, false, true, false)),
-                                     (String ((Ascii (true, false, true,
-                                     false, false, true, true, false)),
-                                     (String ((Ascii (false, true, true,
-                                     false, false, true, true, false)),
-                                     (String ((Ascii (true, false, true,
-                                     false, false, true, true, false)),
-                                     (String ((Ascii (false, true, false,
-                                     false, true, true, true, false)),
-                                     (String ((Ascii (true, false, true,
-                                     false, false, true, true, false)),
-                                     (String ((Ascii (false, true, true,
-                                     true, false, true, true, false)),
-                                     (String ((Ascii (true, true, false,
-                                     false, false, true, true, false)),
-                                     (String ((Ascii (true, false, true,
-                                     false, false, true, true, false)),
-                                     (String ((Ascii (false, true, true,
-                                     false, false, false, true, false)),
-                                     (String ((Ascii (true, false, false,
-                                     true, false, true, true, false)),
-                                     (String ((Ascii (true, false, true,
-                                     false, false, true, true, false)),
-                                     (String ((Ascii (false, false, true,
-                                     true, false, true, true, false)),
-                                     (String ((Ascii (false, false, true,
-                                     false, false, true, true, false)),
-                                     EmptyString))))))))))))))))))))))))))))))))))))))))))))))))))))))))))))))))))))))))))))))))))))))))
-                                then Some
-                                       (if Z.eqb
-                                             (geti r (String ((Ascii (false,
-                                               true, true, false, false,
-                                               false, true, false)), (String
-                                               ((Ascii (true, true, true,
-                                               true, false, true, true,
-                                               false)), (String ((Ascii
-                                               (false, true, false, false,
-                                               true, true, true, false)),
-                                               (String ((Ascii (true, false,
-                                               true, false, false, true,
-                                               true, false)), (String ((Ascii
-                                               (true, false, false, true,
-                                               false, true, true, false)),
-                                               (String ((Ascii (true, true,
-                                               true, false, false, true,
-                                               true, false)), (String ((Ascii
-                                               (false, true, true, true,
-                                               false, true, true, false)),
-                                               (String ((Ascii (true, false,
-                                               true, false, false, false,
-                                               true, false)), (String ((Ascii
-                                               (false, false, false, true,
-                                               true, true, true, false)),
-                                               (String ((Ascii (true, true,
-                                               false, false, false, true,
-                                               true, false)), (String ((Ascii
-                                               (false, false, false, true,
-                                               false, true, true, false)),
-                                               (String ((Ascii (true, false,
-                                               false, false, false, true,
-                                               true, false)), (String ((Ascii
-                                               (false, true, true, true,
-                                               false, true, true, false)),
-                                               (String ((Ascii (true, true,
-                                               true, false, false, true,
-                                               true, false)), (String ((Ascii
-                                               (true, false, true, false,
-                                               false, true, true, false)),
-                                               (String ((Ascii (false, true,
-                                               false, false, true, false,
-                                               true, false)), (String ((Ascii
-                                               (true, false, true, false,
-                                               false, true, true, false)),
-                                               (String ((Ascii (false, true,
-                                               true, false, false, true,
-                                               true, false)), (String ((Ascii
-                                               (true, false, true, false,
-                                               false, true, true, false)),
-                                               (String ((Ascii (false, true,
-                                               false, false, true, true,
-                                               true, false)), (String ((Ascii
-                                               (true, false, true, false,
-                                               false, true, true, false)),
-                                               (String ((Ascii (false, true,
-                                               true, true, false, true, true,
-                                               false)), (String ((Ascii
-                                               (true, true, false, false,
-                                               false, true, true, false)),
-                                               (String ((Ascii (true, false,
-                                               true, false, false, true,
-                                               true, false)), (String ((Ascii
-                                               (true, false, false, true,
-                                               false, false, true, false)),
-                                               (String ((Ascii (false, true,
-                                               true, true, false, true, true,
-                                               false)), (String ((Ascii
-                                               (false, false, true, false,
-                                               false, true, true, false)),
-                                               (String ((Ascii (true, false,
-                                               false, true, false, true,
-                                               true, false)), (String ((Ascii
-                                               (true, true, false, false,
-                                               false, true, true, false)),
-                                               (String ((Ascii (true, false,
-                                               false, false, false, true,
-                                               true, false)), (String ((Ascii
-                                               (false, false, true, false,
-                                               true, true, true, false)),
-                                               (String ((Ascii (true, true,
-                                               true, true, false, true, true,
-                                               false)), (String ((Ascii
-                                               (false, true, false, false,
-                                               true, true, true, false)),
-                                               EmptyString)))))))))))))))))))))))))))))))))))))))))))))))))))))))))))))))))))
-                                             (Zpos (XI XH))
-                                        then spaces (S (S (S (S (S (S (S (S
-                                               (S (S (S (S (S (S (S
-                                               O)))))))))))))))
-                                        else alphaField
-                                               (gets r (String ((Ascii
-                                                 (false, true, true, false,
-                                                 false, false, true, false)),
-                                                 (String ((Ascii (true, true,
-                                                 true, true, false, true,
-                                                 true, false)), (String
-                                                 ((Ascii (false, true, false,
-                                                 false, true, true, true,
-                                                 false)), (String ((Ascii
-                                                 (true, false, true, false,
-                                                 false, true, true, false)),
-                                                 (String ((Ascii (true,
-                                                 false, false, true, false,
-                                                 true, true, false)), (String
-                                                 ((Ascii (true, true, true,
-                                                 false, false, true, true,
-                                                 false)), (String ((Ascii
-                                                 (false, true, true, true,
-                                                 false, true, true, false)),
-                                                 (String ((Ascii (true,
-                                                 false, true, false, false,
-                                                 false, true, false)),
-                                                 (String ((Ascii (false,
-                                                 false, false, true, true,
-                                                 true, true, false)), (String
-                                                 ((Ascii (true, true, false,
-                                                 false, false, true, true,
-                                                 false)), (String ((Ascii
-                                                 (false, false, false, true,
-                                                 false, true, true, false)),
-                                                 (String ((Ascii (true,
-                                                 false, false, false, false,
-                                                 true, true, false)), (String
-                                                 ((Ascii (false, true, true,
-                                                 true, false, true, true,
-                                                 false)), (String ((Ascii
-                                                 (true, true, true, false,
-                                                 false, true, true, false)),
-                                                 (String ((Ascii (true,
-                                                 false, true, false, false,
-                                                 true, true, false)), (String
-                                                 ((Ascii (false, true, false,
-                                                 false, true, false, true,
-                                                 false)), (String ((Ascii
-                                                 (true, false, true, false,
-                                                 false, true, true, false)),
-                                                 (String ((Ascii (false,
-                                                 true, true, false, false,
-                                                 true, true, false)), (String
-                                                 ((Ascii (true, false, true,
-                                                 false, false, true, true,
-                                                 false)), (String ((Ascii
-                                                 (false, true, false, false,
-                                                 true, true, true, false)),
-                                                 (String ((Ascii (true,
-                                                 false, true, false, false,
-                                                 true, true, false)), (String
-                                                 ((Ascii (false, true, true,
-                                                 true, false, true, true,
-                                                 false)), (String ((Ascii
-                                                 (true, true, false, false,
-                                                 false, true, true, false)),
-                                                 (String ((Ascii (true,
-                                                 false, true, false, false,
-                                                 true, true, false)),
-                                                 EmptyString)))))))))))))))))))))))))))))))))))))))))))))))))
-                                               (S (S (S (S (S (S (S (S (S (S
-                                               (S (S (S (S (S O))))))))))))))))
-                                else if eqb1 name (String ((Ascii (true,
-                                          false, false, false, false, false,
-                                          true, false)), (String ((Ascii
-                                          (false, false, true, false, false,
-                                          true, true, false)), (String
-                                          ((Ascii (false, false, true, false,
-                                          false, true, true, false)), (String
-                                          ((Ascii (true, false, true, false,
-                                          false, true, true, false)), (String
-                                          ((Ascii (false, true, true, true,
-                                          false, true, true, false)), (String
-                                          ((Ascii (false, false, true, false,
-                                          false, true, true, false)), (String
-                                          ((Ascii (true, false, false, false,
-                                          false, true, true, false)), (String
-                                          ((Ascii (true, false, false, true,
-                                          true, true, false, false)), (String
-                                          ((Ascii (false, false, false, true,
-                                          true, true, false, false)), (String
-                                          ((Ascii (false, true, true, true,
-                                          false, true, false, false)),
-                                          (String ((Ascii (true, true, false,
-                                          false, false, false, true, false)),
-                                          (String ((Ascii (true, true, true,
-                                          true, false, true, true, false)),
-                                          (String ((Ascii (false, true,
-                                          false, false, true, true, true,
-                                          false)), (String ((Ascii (false,
-                                          true, false, false, true, true,
-                                          true, false)), (String ((Ascii
-                                          (true, false, true, false, false,
-                                          true, true, false)), (String
-                                          ((Ascii (true, true, false, false,
-                                          false, true, true, false)), (String
-                                          ((Ascii (false, false, true, false,
-                                          true, true, true, false)), (String
-                                          ((Ascii (true, false, true, false,
-                                          false, true, true, false)), (String
-                                          ((Ascii (false, false, true, false,
-                                          false, true, true, false)), (String
-                                          ((Ascii (false, false, true, false,
-                                          false, false, true, false)),
-                                          (String ((Ascii (true, false,
-                                          false, false, false, true, true,
-                                          false)), (String ((Ascii (false,
-                                          false, true, false, true, true,
-                                          true, false)), (String ((Ascii
-                                          (true, false, false, false, false,
-                                          true, true, false)), (String
-                                          ((Ascii (false, true, true, false,
-                                          false, false, true, false)),
-                                          (String ((Ascii (true, false,
-                                          false, true, false, true, true,
-                                          false)), (String ((Ascii (true,
-                                          false, true, false, false, true,
-                                          true, false)), (String ((Ascii
-                                          (false, false, true, true, false,
-                                          true, true, false)), (String
-                                          ((Ascii (false, false, true, false,
-                                          false, true, true, false)),
-                                          EmptyString))))))))))))))))))))))))))))))))))))))))))))))))))))))))
-                                     then Some
-                                            (match gets r (String ((Ascii
-                                                     (true, false, false,
-                                                     true, false, true, true,
-                                                     false)), (String ((Ascii
-                                                     (true, false, false,
-                                                     false, false, true,
-                                                     true, false)), (String
-                                                     ((Ascii (false, false,
-                                                     true, false, true, true,
-                                                     true, false)), (String
-                                                     ((Ascii (true, true,
-                                                     false, false, false,
-                                                     false, true, false)),
-                                                     (String ((Ascii (true,
-                                                     true, true, true, false,
-                                                     true, true, false)),
-                                                     (String ((Ascii (false,
-                                                     true, false, false,
-                                                     true, true, true,
-                                                     false)), (String ((Ascii
-                                                     (false, true, false,
-                                                     false, true, true, true,
-                                                     false)), (String ((Ascii
-                                                     (true, false, true,
-                                                     false, false, true,
-                                                     true, false)), (String
-                                                     ((Ascii (true, true,
-                                                     false, false, false,
-                                                     true, true, false)),
-                                                     (String ((Ascii (false,
-                                                     false, true, false,
-                                                     true, true, true,
-                                                     false)), (String ((Ascii
-                                                     (true, false, true,
-                                                     false, false, true,
-                                                     true, false)), (String
-                                                     ((Ascii (false, false,
-                                                     true, false, false,
-                                                     true, true, false)),
-                                                     (String ((Ascii (false,
-                                                     false, true, false,
-                                                     false, false, true,
-                                                     false)), (String ((Ascii
-                                                     (true, false, false,
-                                                     false, false, true,
-                                                     true, false)), (String
-                                                     ((Ascii (false, false,
-                                                     true, false, true, true,
-                                                     true, false)), (String
-                                                     ((Ascii (true, false,
-                                                     false, false, false,
-                                                     true, true, false)),
-                                                     EmptyString)))))))))))))))))))))))))))))))) with
-                                             | [] ->
-                                               alphaField
-                                                 (gets r (String ((Ascii
-                                                   (true, true, false, false,
-                                                   false, false, true,
-                                                   false)), (String ((Ascii
-                                                   (true, true, true, true,
-                                                   false, true, true,
-                                                   false)), (String ((Ascii
-                                                   (false, true, false,
-                                                   false, true, true, true,
-                                                   false)), (String ((Ascii
-                                                   (false, true, false,
-                                                   false, true, true, true,
-                                                   false)), (String ((Ascii
-                                                   (true, false, true, false,
-                                                   false, true, true,
-                                                   false)), (String ((Ascii
-                                                   (true, true, false, false,
-                                                   false, true, true,
-                                                   false)), (String ((Ascii
-                                                   (false, false, true,
-                                                   false, true, true, true,
-                                                   false)), (String ((Ascii
-                                                   (true, false, true, false,
-                                                   false, true, true,
-                                                   false)), (String ((Ascii
-                                                   (false, false, true,
-                                                   false, false, true, true,
-                                                   false)), (String ((Ascii
-                                                   (false, false, true,
-                                                   false, false, false, true,
-                                                   false)), (String ((Ascii
-                                                   (true, false, false,
-                                                   false, false, true, true,
-                                                   false)), (String ((Ascii
-                                                   (false, false, true,
-                                                   false, true, true, true,
-                                                   false)), (String ((Ascii
-                                                   (true, false, false,
-                                                   false, false, true, true,
-                                                   false)),
-                                                   EmptyString)))))))))))))))))))))))))))
-                                                 (S (S (S (S (S (S (S (S (S
-                                                 (S (S (S (S (S (S (S (S (S
-                                                 (S (S (S (S (S (S (S (S (S
-                                                 (S (S
-                                                 O)))))))))))))))))))))))))))))
-                                             | n0 :: l ->
-                                               app
-                                                 (alphaField
-                                                   (gets r (String ((Ascii
-                                                     (true, true, false,
-                                                     false, false, false,
-                                                     true, false)), (String
-                                                     ((Ascii (true, true,
-                                                     true, true, false, true,
-                                                     true, false)), (String
-                                                     ((Ascii (false, true,
-                                                     false, false, true,
-                                                     true, true, false)),
-                                                     (String ((Ascii (false,
-                                                     true, false, false,
-                                                     true, true, true,
-                                                     false)), (String ((Ascii
-                                                     (true, false, true,
-                                                     false, false, true,
-                                                     true, false)), (String
-                                                     ((Ascii (true, true,
-                                                     false, false, false,
-                                                     true, true, false)),
-                                                     (String ((Ascii (false,
-                                                     false, true, false,
-                                                     true, true, true,
-                                                     false)), (String ((Ascii
-                                                     (true, false, true,
-                                                     false, false, true,
-                                                     true, false)), (String
-                                                     ((Ascii (false, false,
-                                                     true, false, false,
-                                                     true, true, false)),
-                                                     (String ((Ascii (false,
-                                                     false, true, false,
-                                                     false, false, true,
-                                                     false)), (String ((Ascii
-                                                     (true, false, false,
-                                                     false, false, true,
-                                                     true, false)), (String
-                                                     ((Ascii (false, false,
-                                                     true, false, true, true,
-                                                     true, false)), (String
-                                                     ((Ascii (true, false,
-                                                     false, false, false,
-                                                     true, true, false)),
-                                                     EmptyString)))))))))))))))))))))))))))
-                                                   (S (S (S (S (S (S (S (S (S
-                                                   (S (S (S (S (S (S (S (S (S
-                                                   (S (S (S (S (S (S (S (S (S
-                                                   (S (S
-                                                   O))))))))))))))))))))))))))))))
-                                                 (alphaField (n0 :: l) (S (S
-                                                   (S (S (S (S O))))))))
-                                     else None
-
-(** val render_seg : recval -> seg -> bytes **)
-
-let render_seg r = function
-| SLit bs -> bs
-| SAlpha (f, w) -> alphaField (gets r f) w
-| SNum (f, w) -> numericField (geti r f) w
-| SStr (f, w) -> stringField (gets r f) w
-| SRaw f -> gets r f
-| SItoa f -> itoa (geti r f)
-| SCustom (n0, _) ->
-  (match render_custom n0 r with
-   | Some bs -> bs
-   | None -> [])
-| SUnknown _ -> []
-
-(** val render : layout -> recval -> bytes **)
-
-let render l r =
-  concat (map (render_seg r) l.l_segs)
-
-(** val units : indexing -> bytes -> bytes list **)
-
-let units ix s =
-  match ix with
-  | IRune -> map snd (chunks s)
-  | IByte -> map (fun b -> b :: []) s
-
-(** val sub0 : bytes list -> nat -> nat -> bytes **)
-
-let sub0 us lo hi =
-  concat (firstn (sub hi lo) (skipn lo us))
-
-(** val two : n -> n -> n **)
-
-let two a b =
-  N.add
-    (N.mul (N.sub a (Npos (XO (XO (XO (XO (XI XH))))))) (Npos (XO (XI (XO
-      XH))))) (N.sub b (Npos (XO (XO (XO (XO (XI XH)))))))
-
-(** val valid_date : bytes -> bool **)
-
-let valid_date s = match s with
-| [] -> false
-| y1 :: l ->
-  (match l with
-   | [] -> false
-   | y2 :: l0 ->
-     (match l0 with
-      | [] -> false
-      | m1 :: l1 ->
-        (match l1 with
-         | [] -> false
-         | m2 :: l2 ->
-           (match l2 with
-            | [] -> false
-            | d1 :: l3 ->
-              (match l3 with
-               | [] -> false
-               | d2 :: l4 ->
-                 (match l4 with
-                  | [] ->
-                    (&&) (forallb is_digit s)
-                      (let yy = two y1 y2 in
-                       let mm = two m1 m2 in
-                       let dd = two d1 d2 in
-                       let year =
-                         if N.ltb yy (Npos (XI (XO (XI (XO (XO (XO XH)))))))
-                         then N.add (Npos (XO (XO (XO (XO (XI (XO (XI (XI (XI
-                                (XI XH))))))))))) yy
-                         else N.add (Npos (XO (XO (XI (XI (XO (XI (XI (XO (XI
-                                (XI XH))))))))))) yy
-                       in
-                       let leap =
-                         (||)
-                           ((&&)
-                             (N.eqb (N.modulo year (Npos (XO (XO XH)))) N0)
-                             (negb
-                               (N.eqb
-                                 (N.modulo year (Npos (XO (XO (XI (XO (XO (XI
-                                   XH)))))))) N0)))
-                           (N.eqb
-                             (N.modulo year (Npos (XO (XO (XO (XO (XI (XO (XO
-                               (XI XH)))))))))) N0)
-                       in
-                       let dim =
-                         if N.eqb mm (Npos (XO XH))
-                         then if leap
-                              then Npos (XI (XO (XI (XI XH))))
-                              else Npos (XO (XO (XI (XI XH))))
-                         else if (||)
-                                   ((||)
-                                     ((||) (N.eqb mm (Npos (XO (XO XH))))
-                                       (N.eqb mm (Npos (XO (XI XH)))))
-                                     (N.eqb mm (Npos (XI (XO (XO XH))))))
-                                   (N.eqb mm (Npos (XI (XI (XO XH)))))
-                              then Npos (XO (XI (XI (XI XH))))
-                              else Npos (XI (XI (XI (XI XH))))
-                       in
-                       (&&)
-                         ((&&)
-                           ((&&) (N.leb (Npos XH) mm)
-                             (N.leb mm (Npos (XO (XO (XI XH))))))
-                           (N.leb (Npos XH) dd)) (N.leb dd dim))
-                  | _ :: _ -> false))))))
-
-(** val valid_time : bytes -> bool **)
-
-let valid_time = function
-| [] -> false
-| h1 :: l ->
-  (match l with
-   | [] -> false
-   | h2 :: l0 ->
-     (match l0 with
-      | [] -> false
-      | m1 :: l1 ->
-        (match l1 with
-         | [] -> false
-         | m2 :: l2 ->
-           (match l2 with
-            | [] ->
-              (&&)
-                ((&&)
-                  ((&&)
-                    ((&&)
-                      ((&&) (N.leb (Npos (XO (XO (XO (XO (XI XH)))))) h1)
-                        (N.leb h1 (Npos (XO (XI (XO (XO (XI XH))))))))
-                      (is_digit h2))
-                    (N.leb (Npos (XO (XO (XO (XO (XI XH)))))) m1))
-                  (N.leb m1 (Npos (XI (XO (XI (XO (XI XH)))))))) (is_digit m2)
-            | _ :: _ -> false))))
-
-(** val validateSettlementDate : bytes -> bytes **)
-
-let validateSettlementDate s =
-  if (||) (bytes_eqb s (spaces (S (S (S O)))))
-       (negb (Nat.eqb (rune_count s) (S (S (S O)))))
-  then spaces (S (S (S O)))
-  else (match atoi_opt s with
-        | Some d ->
-          if (&&) (Z.leb (Zpos XH) d)
-               (Z.leb d (Zpos (XO (XI (XI (XI (XO (XI (XI (XO XH))))))))))
-          then s
-          else spaces (S (S (S O)))
-        | None -> spaces (S (S (S O))))
-
-(** val ten_zeros : bytes **)
-
-let ten_zeros =
-  zeros (S (S (S (S (S (S (S (S (S (S O))))))))))
-
-(** val trimRoutingNumberLeadingZero : bytes -> bytes **)
-
-let trimRoutingNumberLeadingZero s = match s with
-| [] -> trim s
-| n0 :: t ->
-  (match n0 with
-   | N0 -> trim s
-   | Npos p ->
-     (match p with
-      | XO p0 ->
-        (match p0 with
-         | XO p1 ->
-           (match p1 with
-            | XO p2 ->
-              (match p2 with
-               | XO p3 ->
-                 (match p3 with
-                  | XI p4 ->
-                    (match p4 with
-                     | XH ->
-                       if (&&)
-                            (Nat.eqb (rune_count s) (S (S (S (S (S (S (S (S
-                              (S (S O)))))))))))
-                            (negb (bytes_eqb s ten_zeros))
-                       then trim t
-                       else trim s
-                     | _ -> trim s)
-                  | _ -> trim s)
-               | _ -> trim s)
-            | _ -> trim s)
-         | _ -> trim s)
-      | _ -> trim s))
-
-(** val conv_str : string -> bytes -> bytes option **)
-
-let conv_str fn s =
-  if (||)
-       ((||)
-         (eqb1 fn (String ((Ascii (false, false, false, false, true, true,
-           true, false)), (String ((Ascii (true, false, false, false, false,
-           true, true, false)), (String ((Ascii (false, true, false, false,
-           true, true, true, false)), (String ((Ascii (true, true, false,
-           false, true, true, true, false)), (String ((Ascii (true, false,
-           true, false, false, true, true, false)), (String ((Ascii (true,
-           true, false, false, true, false, true, false)), (String ((Ascii
-           (false, false, true, false, true, true, true, false)), (String
-           ((Ascii (false, true, false, false, true, true, true, false)),
-           (String ((Ascii (true, false, false, true, false, true, true,
-           false)), (String ((Ascii (false, true, true, true, false, true,
-           true, false)), (String ((Ascii (true, true, true, false, false,
-           true, true, false)), (String ((Ascii (false, true, true, false,
-           false, false, true, false)), (String ((Ascii (true, false, false,
-           true, false, true, true, false)), (String ((Ascii (true, false,
-           true, false, false, true, true, false)), (String ((Ascii (false,
-           false, true, true, false, true, true, false)), (String ((Ascii
-           (false, false, true, false, false, true, true, false)),
-           EmptyString)))))))))))))))))))))))))))))))))
-         (eqb1 fn (String ((Ascii (true, true, false, false, true, true,
-           true, false)), (String ((Ascii (false, false, true, false, true,
-           true, true, false)), (String ((Ascii (false, true, false, false,
-           true, true, true, false)), (String ((Ascii (true, false, false,
-           true, false, true, true, false)), (String ((Ascii (false, true,
-           true, true, false, true, true, false)), (String ((Ascii (true,
-           true, true, false, false, true, true, false)), (String ((Ascii
-           (true, true, false, false, true, true, true, false)), (String
-           ((Ascii (false, true, true, true, false, true, false, false)),
-           (String ((Ascii (false, false, true, false, true, false, true,
-           false)), (String ((Ascii (false, true, false, false, true, true,
-           true, false)), (String ((Ascii (true, false, false, true, false,
-           true, true, false)), (String ((Ascii (true, false, true, true,
-           false, true, true, false)), (String ((Ascii (true, true, false,
-           false, true, false, true, false)), (String ((Ascii (false, false,
-           false, false, true, true, true, false)), (String ((Ascii (true,
-           false, false, false, false, true, true, false)), (String ((Ascii
-           (true, true, false, false, false, true, true, false)), (String
-           ((Ascii (true, false, true, false, false, true, true, false)),
-           EmptyString))))))))))))))))))))))))))))))))))))
-       (eqb1 fn (String ((Ascii (false, false, false, false, true, true,
-         true, false)), (String ((Ascii (true, false, false, false, false,
-         true, true, false)), (String ((Ascii (false, true, false, false,
-         true, true, true, false)), (String ((Ascii (true, true, false,
-         false, true, true, true, false)), (String ((Ascii (true, false,
-         true, false, false, true, true, false)), (String ((Ascii (true,
-         true, false, false, true, false, true, false)), (String ((Ascii
-         (false, false, true, false, true, true, true, false)), (String
-         ((Ascii (false, true, false, false, true, true, true, false)),
-         (String ((Ascii (true, false, false, true, false, true, true,
-         false)), (String ((Ascii (false, true, true, true, false, true,
-         true, false)), (String ((Ascii (true, true, true, false, false,
-         true, true, false)), (String ((Ascii (false, true, true, false,
-         false, false, true, false)), (String ((Ascii (true, false, false,
-         true, false, true, true, false)), (String ((Ascii (true, false,
-         true, false, false, true, true, false)), (String ((Ascii (false,
-         false, true, true, false, true, true, false)), (String ((Ascii
-         (false, false, true, false, false, true, true, false)), (String
-         ((Ascii (true, true, true, false, true, false, true, false)),
-         (String ((Ascii (true, false, false, true, false, true, true,
-         false)), (String ((Ascii (false, false, true, false, true, true,
-         true, false)), (String ((Ascii (false, false, false, true, false,
-         true, true, false)), (String ((Ascii (true, true, true, true, false,
-         false, true, false)), (String ((Ascii (false, false, false, false,
-         true, true, true, false)), (String ((Ascii (false, false, true,
-         false, true, true, true, false)), (String ((Ascii (true, true,
-         false, false, true, true, true, false)),
-         EmptyString)))))))))))))))))))))))))))))))))))))))))))))))))
-  then Some (trim s)
-  else if eqb1 fn (String ((Ascii (false, false, true, false, true, true,
-            true, false)), (String ((Ascii (false, true, false, false, true,
-            true, true, false)), (String ((Ascii (true, false, false, true,
-            false, true, true, false)), (String ((Ascii (true, false, true,
-            true, false, true, true, false)), (String ((Ascii (false, true,
-            false, false, true, false, true, false)), (String ((Ascii (true,
-            true, true, true, false, true, true, false)), (String ((Ascii
-            (true, false, true, false, true, true, true, false)), (String
-            ((Ascii (false, false, true, false, true, true, true, false)),
-            (String ((Ascii (true, false, false, true, false, true, true,
-            false)), (String ((Ascii (false, true, true, true, false, true,
-            true, false)), (String ((Ascii (true, true, true, false, false,
-            true, true, false)), (String ((Ascii (false, true, true, true,
-            false, false, true, false)), (String ((Ascii (true, false, true,
-            false, true, true, true, false)), (String ((Ascii (true, false,
-            true, true, false, true, true, false)), (String ((Ascii (false,
-            true, false, false, false, true, true, false)), (String ((Ascii
-            (true, false, true, false, false, true, true, false)), (String
-            ((Ascii (false, true, false, false, true, true, true, false)),
-            (String ((Ascii (false, false, true, true, false, false, true,
-            false)), (String ((Ascii (true, false, true, false, false, true,
-            true, false)), (String ((Ascii (true, false, false, false, false,
-            true, true, false)), (String ((Ascii (false, false, true, false,
-            false, true, true, false)), (String ((Ascii (true, false, false,
-            true, false, true, true, false)), (String ((Ascii (false, true,
-            true, true, false, true, true, false)), (String ((Ascii (true,
-            true, true, false, false, true, true, false)), (String ((Ascii
-            (false, true, false, true, true, false, true, false)), (String
-            ((Ascii (true, false, true, false, false, true, true, false)),
-            (String ((Ascii (false, true, false, false, true, true, true,
-            false)), (String ((Ascii (true, true, true, true, false, true,
-            true, false)),
-            EmptyString))))))))))))))))))))))))))))))))))))))))))))))))))))))))
-       then Some (trimRoutingNumberLeadingZero s)
-       else if eqb1 fn (String ((Ascii (false, true, true, false, true, true,
-                 true, false)), (String ((Ascii (true, false, false, false,
-                 false, true, true, false)), (String ((Ascii (false, false,
-                 true, true, false, true, true, false)), (String ((Ascii
-                 (true, false, false, true, false, true, true, false)),
-                 (String ((Ascii (false, false, true, false, false, true,
-                 true, false)), (String ((Ascii (true, false, false, false,
-                 false, true, true, false)), (String ((Ascii (false, false,
-                 true, false, true, true, true, false)), (String ((Ascii
-                 (true, false, true, false, false, true, true, false)),
-                 (String ((Ascii (true, true, false, false, true, false,
-                 true, false)), (String ((Ascii (true, false, false, true,
-                 false, true, true, false)), (String ((Ascii (true, false,
-                 true, true, false, true, true, false)), (String ((Ascii
-                 (false, false, false, false, true, true, true, false)),
-                 (String ((Ascii (false, false, true, true, false, true,
-                 true, false)), (String ((Ascii (true, false, true, false,
-                 false, true, true, false)), (String ((Ascii (false, false,
-                 true, false, false, false, true, false)), (String ((Ascii
-                 (true, false, false, false, false, true, true, false)),
-                 (String ((Ascii (false, false, true, false, true, true,
-                 true, false)), (String ((Ascii (true, false, true, false,
-                 false, true, true, false)),
-                 EmptyString))))))))))))))))))))))))))))))))))))
-            then Some (if valid_date s then s else [])
-            else if eqb1 fn (String ((Ascii (false, true, true, false, true,
-                      true, true, false)), (String ((Ascii (true, false,
-                      false, false, false, true, true, false)), (String
-                      ((Ascii (false, false, true, true, false, true, true,
-                      false)), (String ((Ascii (true, false, false, true,
-                      false, true, true, false)), (String ((Ascii (false,
-                      false, true, false, false, true, true, false)), (String
-                      ((Ascii (true, false, false, false, false, true, true,
-                      false)), (String ((Ascii (false, false, true, false,
-                      true, true, true, false)), (String ((Ascii (true,
-                      false, true, false, false, true, true, false)), (String
-                      ((Ascii (true, true, false, false, true, false, true,
-                      false)), (String ((Ascii (true, false, false, true,
-                      false, true, true, false)), (String ((Ascii (true,
-                      false, true, true, false, true, true, false)), (String
-                      ((Ascii (false, false, false, false, true, true, true,
-                      false)), (String ((Ascii (false, false, true, true,
-                      false, true, true, false)), (String ((Ascii (true,
-                      false, true, false, false, true, true, false)), (String
-                      ((Ascii (false, false, true, false, true, false, true,
-                      false)), (String ((Ascii (true, false, false, true,
-                      false, true, true, false)), (String ((Ascii (true,
-                      false, true, true, false, true, true, false)), (String
-                      ((Ascii (true, false, true, false, false, true, true,
-                      false)), EmptyString))))))))))))))))))))))))))))))))))))
-                 then Some (if valid_time s then s else [])
-                 else if eqb1 fn (String ((Ascii (false, true, true, false,
-                           true, true, true, false)), (String ((Ascii (true,
-                           false, false, false, false, true, true, false)),
-                           (String ((Ascii (false, false, true, true, false,
-                           true, true, false)), (String ((Ascii (true, false,
-                           false, true, false, true, true, false)), (String
-                           ((Ascii (false, false, true, false, false, true,
-                           true, false)), (String ((Ascii (true, false,
-                           false, false, false, true, true, false)), (String
-                           ((Ascii (false, false, true, false, true, true,
-                           true, false)), (String ((Ascii (true, false, true,
-                           false, false, true, true, false)), (String ((Ascii
-                           (true, true, false, false, true, false, true,
-                           false)), (String ((Ascii (true, false, true,
-                           false, false, true, true, false)), (String ((Ascii
-                           (false, false, true, false, true, true, true,
-                           false)), (String ((Ascii (false, false, true,
-                           false, true, true, true, false)), (String ((Ascii
-                           (false, false, true, true, false, true, true,
-                           false)), (String ((Ascii (true, false, true,
-                           false, false, true, true, false)), (String ((Ascii
-                           (true, false, true, true, false, true, true,
-                           false)), (String ((Ascii (true, false, true,
-                           false, false, true, true, false)), (String ((Ascii
-                           (false, true, true, true, false, true, true,
-                           false)), (String ((Ascii (false, false, true,
-                           false, true, true, true, false)), (String ((Ascii
-                           (false, false, true, false, false, false, true,
-                           false)), (String ((Ascii (true, false, false,
-                           false, false, true, true, false)), (String ((Ascii
-                           (false, false, true, false, true, true, true,
-                           false)), (String ((Ascii (true, false, true,
-                           false, false, true, true, false)),
-                           EmptyString))))))))))))))))))))))))))))))))))))))))))))
-                      then Some (validateSettlementDate s)
-                      else None
-
-(** val conv_chain : string list -> bytes -> bytes option **)
-
-let rec conv_chain chain s =
-  match chain with
-  | [] -> Some s
-  | fn :: rest ->
-    (match conv_chain rest s with
-     | Some s' -> conv_str fn s'
-     | None -> None)
-
-(** val conv_value : string list -> bytes -> value option **)
-
-let conv_value chain s =
-  match chain with
-  | [] -> Some (VS s)
-  | fn :: rest ->
-    if eqb1 fn (String ((Ascii (false, false, false, false, true, true, true,
-         false)), (String ((Ascii (true, false, false, false, false, true,
-         true, false)), (String ((Ascii (false, true, false, false, true,
-         true, true, false)), (String ((Ascii (true, true, false, false,
-         true, true, true, false)), (String ((Ascii (true, false, true,
-         false, false, true, true, false)), (String ((Ascii (false, true,
-         true, true, false, false, true, false)), (String ((Ascii (true,
-         false, true, false, true, true, true, false)), (String ((Ascii
-         (true, false, true, true, false, true, true, false)), (String
-         ((Ascii (false, true, true, false, false, false, true, false)),
-         (String ((Ascii (true, false, false, true, false, true, true,
-         false)), (String ((Ascii (true, false, true, false, false, true,
-         true, false)), (String ((Ascii (false, false, true, true, false,
-         true, true, false)), (String ((Ascii (false, false, true, false,
-         false, true, true, false)), EmptyString))))))))))))))))))))))))))
-    then (match conv_chain rest s with
-          | Some s' -> Some (VI (parseNumField s'))
-          | None -> None)
-    else (match conv_chain chain s with
-          | Some s' -> Some (VS s')
-          | None -> None)
-
-(** val parse_cut : bytes list -> cut -> (string * value) list **)
-
-let parse_cut us c =
-  match c.c_const with
-  | Some bs -> (c.c_field, (VS bs)) :: []
+let bw_flush b =
+  match b.b_err with
+  | Some e -> (b, (Some e))
   | None ->
-    if eqb1 c.c_field EmptyString
-    then []
-    else (match conv_value c.c_conv (sub0 us c.c_lo c.c_hi) with
-          | Some v -> (c.c_field, v) :: []
-          | None -> [])
+    if N.eqb b.b_n N0
+    then (b, None)
+    else let data = buf_bytes b in
+         let (p, e) = sink_write b.b_sink data in
+         let (s', n0) = p in
+         let e' =
+           match e with
+           | Some x -> Some x
+           | None -> if N.ltb n0 b.b_n then Some EShort else None
+         in
+         (match e' with
+          | Some x ->
+            ({ b_pend = ((skipn (N.to_nat n0) data) :: []); b_n =
+              (N.sub b.b_n n0); b_err = (Some x); b_sink = s' }, (Some x))
+          | None ->
+            ({ b_pend = []; b_n = N0; b_err = None; b_sink = s' }, None))
 
-(** val parse : layout -> bytes -> recval **)
+(** val ws_loop : nat -> bw -> bytes -> bw * bytes **)
 
-let parse l line =
-  if Nat.eqb (rune_count line) (S (S (S (S (S (S (S (S (S (S (S (S (S (S (S
-       (S (S (S (S (S (S (S (S (S (S (S (S (S (S (S (S (S (S (S (S (S (S (S
-       (S (S (S (S (S (S (S (S (S (S (S (S (S (S (S (S (S (S (S (S (S (S (S
-       (S (S (S (S (S (S (S (S (S (S (S (S (S (S (S (S (S (S (S (S (S (S (S
-       (S (S (S (S (S (S (S (S (S (S
-       O))))))))))))))))))))))))))))))))))))))))))))))))))))))))))))))))))))))))))))))))))))))))))))))
-  then flat_map (parse_cut (units l.l_ix line)) l.l_cuts
-  else []
+let rec ws_loop fuel b s =
+  match fuel with
+  | O -> ((set_err b EFuel), s)
+  | S f ->
+    (match b.b_err with
+     | Some _ -> (b, s)
+     | None ->
+       if N.ltb (avail b) (blen s)
+       then let a = N.to_nat (avail b) in
+            ws_loop f (fst (bw_flush (push b (firstn a s)))) (skipn a s)
+       else (b, s))
 
-(** val overlay : recval -> recval -> recval **)
+(** val bw_write : bw -> bytes -> bw * werr option **)
 
-let overlay new0 old =
-  app (rev new0) old
+let bw_write b s =
+  let (b1, s1) = ws_loop (add (length s) (S (S (S O)))) b s in
+  (match b1.b_err with
+   | Some e -> (b1, (Some e))
+   | None -> ((push b1 s1), None))
 
-(** val l_ADVBatchControl : layout **)
+type handler =
+| Propagate
+| Ignore
+| ReturnNil
+| Absent
+| Unknown
 
-let l_ADVBatchControl =
-  { l_name = (String ((Ascii (true, false, false, false, false, false, true,
-    false)), (String ((Ascii (false, false, true, false, false, false, true,
-    false)), (String ((Ascii (false, true, true, false, true, false, true,
-    false)), (String ((Ascii (false, true, false, false, false, false, true,
-    false)), (String ((Ascii (true, false, false, false, false, true, true,
-    false)), (String ((Ascii (false, false, true, false, true, true, true,
-    false)), (String ((Ascii (true, true, false, false, false, true, true,
-    false)), (String ((Ascii (false, false, false, true, false, true, true,
-    false)), (String ((Ascii (true, true, false, false, false, false, true,
-    false)), (String ((Ascii (true, true, true, true, false, true, true,
-    false)), (String ((Ascii (false, true, true, true, false, true, true,
-    false)), (String ((Ascii (false, false, true, false, true, true, true,
-    false)), (String ((Ascii (false, true, false, false, true, true, true,
-    false)), (String ((Ascii (true, true, true, true, false, true, true,
-    false)), (String ((Ascii (false, false, true, true, false, true, true,
-    false)), EmptyString)))))))))))))))))))))))))))))); l_ix = IRune;
-    l_segs = ((SLit ((Npos (XO (XO (XO (XI (XI XH)))))) :: [])) :: ((SItoa
-    (String ((Ascii (true, true, false, false, true, false, true, false)),
-    (String ((Ascii (true, false, true, false, false, true, true, false)),
-    (String ((Ascii (false, true, false, false, true, true, true, false)),
-    (String ((Ascii (false, true, true, false, true, true, true, false)),
-    (String ((Ascii (true, false, false, true, false, true, true, false)),
-    (String ((Ascii (true, true, false, false, false, true, true, false)),
-    (String ((Ascii (true, false, true, false, false, true, true, false)),
-    (String ((Ascii (true, true, false, false, false, false, true, false)),
-    (String ((Ascii (false, false, true, true, false, true, true, false)),
-    (String ((Ascii (true, false, false, false, false, true, true, false)),
-    (String ((Ascii (true, true, false, false, true, true, true, false)),
-    (String ((Ascii (true, true, false, false, true, true, true, false)),
-    (String ((Ascii (true, true, false, false, false, false, true, false)),
-    (String ((Ascii (true, true, true, true, false, true, true, false)),
-    (String ((Ascii (false, false, true, false, false, true, true, false)),
-    (String ((Ascii (true, false, true, false, false, true, true, false)),
-    EmptyString))))))))))))))))))))))))))))))))) :: ((SNum ((String ((Ascii
-    (true, false, true, false, false, false, true, false)), (String ((Ascii
-    (false, true, true, true, false, true, true, false)), (String ((Ascii
-    (false, false, true, false, true, true, true, false)), (String ((Ascii
-    (false, true, false, false, true, true, true, false)), (String ((Ascii
-    (true, false, false, true, true, true, true, false)), (String ((Ascii
-    (true, false, false, false, false, false, true, false)), (String ((Ascii
-    (false, false, true, false, false, true, true, false)), (String ((Ascii
-    (false, false, true, false, false, true, true, false)), (String ((Ascii
-    (true, false, true, false, false, true, true, false)), (String ((Ascii
-    (false, true, true, true, false, true, true, false)), (String ((Ascii
-    (false, false, true, false, false, true, true, false)), (String ((Ascii
-    (true, false, false, false, false, true, true, false)), (String ((Ascii
-    (true, true, false, false, false, false, true, false)), (String ((Ascii
-    (true, true, true, true, false, true, true, false)), (String ((Ascii
-    (true, false, true, false, true, true, true, false)), (String ((Ascii
-    (false, true, true, true, false, true, true, false)), (String ((Ascii
-    (false, false, true, false, true, true, true, false)),
-    EmptyString)))))))))))))))))))))))))))))))))), (S (S (S (S (S (S
-    O)))))))) :: ((SNum ((String ((Ascii (true, false, true, false, false,
-    false, true, false)), (String ((Ascii (false, true, true, true, false,
-    true, true, false)), (String ((Ascii (false, false, true, false, true,
-    true, true, false)), (String ((Ascii (false, true, false, false, true,
-    true, true, false)), (String ((Ascii (true, false, false, true, true,
-    true, true, false)), (String ((Ascii (false, false, false, true, false,
-    false, true, false)), (String ((Ascii (true, false, false, false, false,
-    true, true, false)), (String ((Ascii (true, true, false, false, true,
-    true, true, false)), (String ((Ascii (false, false, false, true, false,
-    true, true, false)), EmptyString)))))))))))))))))), (S (S (S (S (S (S (S
-    (S (S (S O)))))))))))) :: ((SNum ((String ((Ascii (false, false, true,
-    false, true, false, true, false)), (String ((Ascii (true, true, true,
-    true, false, true, true, false)), (String ((Ascii (false, false, true,
-    false, true, true, true, false)), (String ((Ascii (true, false, false,
-    false, false, true, true, false)), (String ((Ascii (false, false, true,
-    true, false, true, true, false)), (String ((Ascii (false, false, true,
-    false, false, false, true, false)), (String ((Ascii (true, false, true,
-    false, false, true, true, false)), (String ((Ascii (false, true, false,
-    false, false, true, true, false)), (String ((Ascii (true, false, false,
-    true, false, true, true, false)), (String ((Ascii (false, false, true,
-    false, true, true, true, false)), (String ((Ascii (true, false, true,
-    false, false, false, true, false)), (String ((Ascii (false, true, true,
-    true, false, true, true, false)), (String ((Ascii (false, false, true,
-    false, true, true, true, false)), (String ((Ascii (false, true, false,
-    false, true, true, true, false)), (String ((Ascii (true, false, false,
-    true, true, true, true, false)), (String ((Ascii (false, false, true,
-    false, false, false, true, false)), (String ((Ascii (true, true, true,
-    true, false, true, true, false)), (String ((Ascii (false, false, true,
-    true, false, true, true, false)), (String ((Ascii (false, false, true,
-    true, false, true, true, false)), (String ((Ascii (true, false, false,
-    false, false, true, true, false)), (String ((Ascii (false, true, false,
-    false, true, true, true, false)), (String ((Ascii (true, false, false,
-    false, false, false, true, false)), (String ((Ascii (true, false, true,
-    true, false, true, true, false)), (String ((Ascii (true, true, true,
-    true, false, true, true, false)), (String ((Ascii (true, false, true,
-    false, true, true, true, false)), (String ((Ascii (false, true, true,
-    true, false, true, true, false)), (String ((Ascii (false, false, true,
-    false, true, true, true, false)),
-    EmptyString)))))))))))))))))))))))))))))))))))))))))))))))))))))), (S (S
-    (S (S (S (S (S (S (S (S (S (S (S (S (S (S (S (S (S (S
-    O)))))))))))))))))))))) :: ((SNum ((String ((Ascii (false, false, true,
-    false, true, false, true, false)), (String ((Ascii (true, true, true,
-    true, false, true, true, false)), (String ((Ascii (false, false, true,
-    false, true, true, true, false)), (String ((Ascii (true, false, false,
-    false, false, true, true, false)), (String ((Ascii (false, false, true,
-    true, false, true, true, false)), (String ((Ascii (true, true, false,
-    false, false, false, true, false)), (String ((Ascii (false, true, false,
-    false, true, true, true, false)), (String ((Ascii (true, false, true,
-    false, false, true, true, false)), (String ((Ascii (false, false, true,
-    false, false, true, true, false)), (String ((Ascii (true, false, false,
-    true, false, true, true, false)), (String ((Ascii (false, false, true,
-    false, true, true, true, false)), (String ((Ascii (true, false, true,
-    false, false, false, true, false)), (String ((Ascii (false, true, true,
-    true, false, true, true, false)), (String ((Ascii (false, false, true,
-    false, true, true, true, false)), (String ((Ascii (false, true, false,
-    false, true, true, true, false)), (String ((Ascii (true, false, false,
-    true, true, true, true, false)), (String ((Ascii (false, false, true,
-    false, false, false, true, false)), (String ((Ascii (true, true, true,
-    true, false, true, true, false)), (String ((Ascii (false, false, true,
-    true, false, true, true, false)), (String ((Ascii (false, false, true,
-    true, false, true, true, false)), (String ((Ascii (true, false, false,
-    false, false, true, true, false)), (String ((Ascii (false, true, false,
-    false, true, true, true, false)), (String ((Ascii (true, false, false,
-    false, false, false, true, false)), (String ((Ascii (true, false, true,
-    true, false, true, true, false)), (String ((Ascii (true, true, true,
-    true, false, true, true, false)), (String ((Ascii (true, false, true,
-    false, true, true, true, false)), (String ((Ascii (false, true, true,
-    true, false, true, true, false)), (String ((Ascii (false, false, true,
-    false, true, true, true, false)),
-    EmptyString)))))))))))))))))))))))))))))))))))))))))))))))))))))))), (S
-    (S (S (S (S (S (S (S (S (S (S (S (S (S (S (S (S (S (S (S
-    O)))))))))))))))))))))) :: ((SAlpha ((String ((Ascii (true, false, false,
-    false, false, false, true, false)), (String ((Ascii (true, true, false,
-    false, false, false, true, false)), (String ((Ascii (false, false, false,
-    true, false, false, true, false)), (String ((Ascii (true, true, true,
-    true, false, false, true, false)), (String ((Ascii (false, false, false,
-    false, true, true, true, false)), (String ((Ascii (true, false, true,
-    false, false, true, true, false)), (String ((Ascii (false, true, false,
-    false, true, true, true, false)), (String ((Ascii (true, false, false,
-    false, false, true, true, false)), (String ((Ascii (false, false, true,
-    false, true, true, true, false)), (String ((Ascii (true, true, true,
-    true, false, true, true, false)), (String ((Ascii (false, true, false,
-    false, true, true, true, false)), (String ((Ascii (false, false, true,
-    false, false, false, true, false)), (String ((Ascii (true, false, false,
-    false, false, true, true, false)), (String ((Ascii (false, false, true,
-    false, true, true, true, false)), (String ((Ascii (true, false, false,
-    false, false, true, true, false)),
-    EmptyString)))))))))))))))))))))))))))))), (S (S (S (S (S (S (S (S (S (S
-    (S (S (S (S (S (S (S (S (S O))))))))))))))))))))) :: ((SStr ((String
-    ((Ascii (true, true, true, true, false, false, true, false)), (String
-    ((Ascii (false, false, true, false, false, false, true, false)), (String
-    ((Ascii (false, true, true, false, false, false, true, false)), (String
-    ((Ascii (true, false, false, true, false, false, true, false)), (String
-    ((Ascii (true, false, false, true, false, false, true, false)), (String
-    ((Ascii (false, false, true, false, false, true, true, false)), (String
-    ((Ascii (true, false, true, false, false, true, true, false)), (String
-    ((Ascii (false, true, true, true, false, true, true, false)), (String
-    ((Ascii (false, false, true, false, true, true, true, false)), (String
-    ((Ascii (true, false, false, true, false, true, true, false)), (String
-    ((Ascii (false, true, true, false, false, true, true, false)), (String
-    ((Ascii (true, false, false, true, false, true, true, false)), (String
-    ((Ascii (true, true, false, false, false, true, true, false)), (String
-    ((Ascii (true, false, false, false, false, true, true, false)), (String
-    ((Ascii (false, false, true, false, true, true, true, false)), (String
-    ((Ascii (true, false, false, true, false, true, true, false)), (String
-    ((Ascii (true, true, true, true, false, true, true, false)), (String
-    ((Ascii (false, true, true, true, false, true, true, false)),
-    EmptyString)))))))))))))))))))))))))))))))))))), (S (S (S (S (S (S (S (S
-    O)))))))))) :: ((SNum ((String ((Ascii (false, true, false, false, false,
-    false, true, false)), (String ((Ascii (true, false, false, false, false,
-    true, true, false)), (String ((Ascii (false, false, true, false, true,
-    true, true, false)), (String ((Ascii (true, true, false, false, false,
-    true, true, false)), (String ((Ascii (false, false, false, true, false,
-    true, true, false)), (String ((Ascii (false, true, true, true, false,
-    false, true, false)), (String ((Ascii (true, false, true, false, true,
-    true, true, false)), (String ((Ascii (true, false, true, true, false,
-    true, true, false)), (String ((Ascii (false, true, false, false, false,
-    true, true, false)), (String ((Ascii (true, false, true, false, false,
-    true, true, false)), (String ((Ascii (false, true, false, false, true,
-    true, true, false)), EmptyString)))))))))))))))))))))), (S (S (S (S (S (S
-    (S O))))))))) :: []))))))))); l_cuts =
-    ((mkcut O (S O) EmptyString []) :: ((mkcut (S O) (S (S (S (S O))))
-                                          (String ((Ascii (true, true, false,
-                                          false, true, false, true, false)),
-                                          (String ((Ascii (true, false, true,
-                                          false, false, true, true, false)),
-                                          (String ((Ascii (false, true,
-                                          false, false, true, true, true,
-                                          false)), (String ((Ascii (false,
-                                          true, true, false, true, true,
-                                          true, false)), (String ((Ascii
-                                          (true, false, false, true, false,
-                                          true, true, false)), (String
-                                          ((Ascii (true, true, false, false,
-                                          false, true, true, false)), (String
-                                          ((Ascii (true, false, true, false,
-                                          false, true, true, false)), (String
-                                          ((Ascii (true, true, false, false,
-                                          false, false, true, false)),
-                                          (String ((Ascii (false, false,
-                                          true, true, false, true, true,
-                                          false)), (String ((Ascii (true,
-                                          false, false, false, false, true,
-                                          true, false)), (String ((Ascii
-                                          (true, true, false, false, true,
-                                          true, true, false)), (String
-                                          ((Ascii (true, true, false, false,
-                                          true, true, true, false)), (String
-                                          ((Ascii (true, true, false, false,
-                                          false, false, true, false)),
-                                          (String ((Ascii (true, true, true,
-                                          true, false, true, true, false)),
-                                          (String ((Ascii (false, false,
-                                          true, false, false, true, true,
-                                          false)), (String ((Ascii (true,
-                                          false, true, false, false, true,
-                                          true, false)),
-                                          EmptyString))))))))))))))))))))))))))))))))
-                                          ((String ((Ascii (false, false,
-                                          false, false, true, true, true,
-                                          false)), (String ((Ascii (true,
-                                          false, false, false, false, true,
-                                          true, false)), (String ((Ascii
-                                          (false, true, false, false, true,
-                                          true, true, false)), (String
-                                          ((Ascii (true, true, false, false,
-                                          true, true, true, false)), (String
-                                          ((Ascii (true, false, true, false,
-                                          false, true, true, false)), (String
-                                          ((Ascii (false, true, true, true,
-                                          false, false, true, false)),
-                                          (String ((Ascii (true, false, true,
-                                          false, true, true, true, false)),
-                                          (String ((Ascii (true, false, true,
-                                          true, false, true, true, false)),
-                                          (String ((Ascii (false, true, true,
-                                          false, false, false, true, false)),
-                                          (String ((Ascii (true, false,
-                                          false, true, false, true, true,
-                                          false)), (String ((Ascii (true,
-                                          false, true, false, false, true,
-                                          true, false)), (String ((Ascii
-                                          (false, false, true, true, false,
-                                          true, true, false)), (String
-                                          ((Ascii (false, false, true, false,
-                                          false, true, true, false)),
-                                          EmptyString)))))))))))))))))))))))))) :: [])) :: (
-    (mkcut (S (S (S (S O)))) (S (S (S (S (S (S (S (S (S (S O))))))))))
-      (String ((Ascii (true, false, true, false, false, false, true, false)),
-      (String ((Ascii (false, true, true, true, false, true, true, false)),
-      (String ((Ascii (false, false, true, false, true, true, true, false)),
-      (String ((Ascii (false, true, false, false, true, true, true, false)),
-      (String ((Ascii (true, false, false, true, true, true, true, false)),
-      (String ((Ascii (true, false, false, false, false, false, true,
-      false)), (String ((Ascii (false, false, true, false, false, true, true,
-      false)), (String ((Ascii (false, false, true, false, false, true, true,
-      false)), (String ((Ascii (true, false, true, false, false, true, true,
-      false)), (String ((Ascii (false, true, true, true, false, true, true,
-      false)), (String ((Ascii (false, false, true, false, false, true, true,
-      false)), (String ((Ascii (true, false, false, false, false, true, true,
-      false)), (String ((Ascii (true, true, false, false, false, false, true,
-      false)), (String ((Ascii (true, true, true, true, false, true, true,
-      false)), (String ((Ascii (true, false, true, false, true, true, true,
-      false)), (String ((Ascii (false, true, true, true, false, true, true,
-      false)), (String ((Ascii (false, false, true, false, true, true, true,
-      false)), EmptyString)))))))))))))))))))))))))))))))))) ((String ((Ascii
-      (false, false, false, false, true, true, true, false)), (String ((Ascii
-      (true, false, false, false, false, true, true, false)), (String ((Ascii
-      (false, true, false, false, true, true, true, false)), (String ((Ascii
-      (true, true, false, false, true, true, true, false)), (String ((Ascii
-      (true, false, true, false, false, true, true, false)), (String ((Ascii
-      (false, true, true, true, false, false, true, false)), (String ((Ascii
-      (true, false, true, false, true, true, true, false)), (String ((Ascii
-      (true, false, true, true, false, true, true, false)), (String ((Ascii
-      (false, true, true, false, false, false, true, false)), (String ((Ascii
-      (true, false, false, true, false, true, true, false)), (String ((Ascii
-      (true, false, true, false, false, true, true, false)), (String ((Ascii
-      (false, false, true, true, false, true, true, false)), (String ((Ascii
-      (false, false, true, false, false, true, true, false)),
-      EmptyString)))))))))))))))))))))))))) :: [])) :: ((mkcut (S (S (S (S (S
-                                                          (S (S (S (S (S
-                                                          O)))))))))) (S (S
-                                                          (S (S (S (S (S (S
-                                                          (S (S (S (S (S (S
-                                                          (S (S (S (S (S (S
-                                                          O))))))))))))))))))))
-                                                          (String ((Ascii
-                                                          (true, false, true,
-                                                          false, false,
-                                                          false, true,
-                                                          false)), (String
-                                                          ((Ascii (false,
-                                                          true, true, true,
-                                                          false, true, true,
-                                                          false)), (String
-                                                          ((Ascii (false,
-                                                          false, true, false,
-                                                          true, true, true,
-                                                          false)), (String
-                                                          ((Ascii (false,
-                                                          true, false, false,
-                                                          true, true, true,
-                                                          false)), (String
-                                                          ((Ascii (true,
-                                                          false, false, true,
-                                                          true, true, true,
-                                                          false)), (String
-                                                          ((Ascii (false,
-                                                          false, false, true,
-                                                          false, false, true,
-                                                          false)), (String
-                                                          ((Ascii (true,
-                                                          false, false,
-                                                          false, false, true,
-                                                          true, false)),
-                                                          (String ((Ascii
-                                                          (true, true, false,
-                                                          false, true, true,
-                                                          true, false)),
-                                                          (String ((Ascii
-                                                          (false, false,
-                                                          false, true, false,
-                                                          true, true,
-                                                          false)),
-                                                          EmptyString))))))))))))))))))
-                                                          ((String ((Ascii
-                                                          (false, false,
-                                                          false, false, true,
-                                                          true, true,
-                                                          false)), (String
-                                                          ((Ascii (true,
-                                                          false, false,
-                                                          false, false, true,
-                                                          true, false)),
-                                                          (String ((Ascii
-                                                          (false, true,
-                                                          false, false, true,
-                                                          true, true,
-                                                          false)), (String
-                                                          ((Ascii (true,
-                                                          true, false, false,
-                                                          true, true, true,
-                                                          false)), (String
-                                                          ((Ascii (true,
-                                                          false, true, false,
-                                                          false, true, true,
-                                                          false)), (String
-                                                          ((Ascii (false,
-                                                          true, true, true,
-                                                          false, false, true,
-                                                          false)), (String
-                                                          ((Ascii (true,
-                                                          false, true, false,
-                                                          true, true, true,
-                                                          false)), (String
-                                                          ((Ascii (true,
-                                                          false, true, true,
-                                                          false, true, true,
-                                                          false)), (String
-                                                          ((Ascii (false,
-                                                          true, true, false,
-                                                          false, false, true,
-                                                          false)), (String
-                                                          ((Ascii (true,
-                                                          false, false, true,
-                                                          false, true, true,
-                                                          false)), (String
-                                                          ((Ascii (true,
-                                                          false, true, false,
-                                                          false, true, true,
-                                                          false)), (String
-                                                          ((Ascii (false,
-                                                          false, true, true,
-                                                          false, true, true,
-                                                          false)), (String
-                                                          ((Ascii (false,
-                                                          false, true, false,
-                                                          false, true, true,
-                                                          false)),
-                                                          EmptyString)))))))))))))))))))))))))) :: [])) :: (
-    (mkcut (S (S (S (S (S (S (S (S (S (S (S (S (S (S (S (S (S (S (S (S
-      O)))))))))))))))))))) (S (S (S (S (S (S (S (S (S (S (S (S (S (S (S (S
-      (S (S (S (S (S (S (S (S (S (S (S (S (S (S (S (S (S (S (S (S (S (S (S (S
-      O)))))))))))))))))))))))))))))))))))))))) (String ((Ascii (false,
-      false, true, false, true, false, true, false)), (String ((Ascii (true,
-      true, true, true, false, true, true, false)), (String ((Ascii (false,
-      false, true, false, true, true, true, false)), (String ((Ascii (true,
-      false, false, false, false, true, true, false)), (String ((Ascii
-      (false, false, true, true, false, true, true, false)), (String ((Ascii
-      (false, false, true, false, false, false, true, false)), (String
-      ((Ascii (true, false, true, false, false, true, true, false)), (String
-      ((Ascii (false, true, false, false, false, true, true, false)), (String
-      ((Ascii (true, false, false, true, false, true, true, false)), (String
-      ((Ascii (false, false, true, false, true, true, true, false)), (String
-      ((Ascii (true, false, true, false, false, false, true, false)), (String
-      ((Ascii (false, true, true, true, false, true, true, false)), (String
-      ((Ascii (false, false, true, false, true, true, true, false)), (String
-      ((Ascii (false, true, false, false, true, true, true, false)), (String
-      ((Ascii (true, false, false, true, true, true, true, false)), (String
-      ((Ascii (false, false, true, false, false, false, true, false)),
-      (String ((Ascii (true, true, true, true, false, true, true, false)),
-      (String ((Ascii (false, false, true, true, false, true, true, false)),
-      (String ((Ascii (false, false, true, true, false, true, true, false)),
-      (String ((Ascii (true, false, false, false, false, true, true, false)),
-      (String ((Ascii (false, true, false, false, true, true, true, false)),
-      (String ((Ascii (true, false, false, false, false, false, true,
-      false)), (String ((Ascii (true, false, true, true, false, true, true,
-      false)), (String ((Ascii (true, true, true, true, false, true, true,
-      false)), (String ((Ascii (true, false, true, false, true, true, true,
-      false)), (String ((Ascii (false, true, true, true, false, true, true,
-      false)), (String ((Ascii (false, false, true, false, true, true, true,
-      false)),
-      EmptyString))))))))))))))))))))))))))))))))))))))))))))))))))))))
-      ((String ((Ascii (false, false, false, false, true, true, true,
-      false)), (String ((Ascii (true, false, false, false, false, true, true,
-      false)), (String ((Ascii (false, true, false, false, true, true, true,
-      false)), (String ((Ascii (true, true, false, false, true, true, true,
-      false)), (String ((Ascii (true, false, true, false, false, true, true,
-      false)), (String ((Ascii (false, true, true, true, false, false, true,
-      false)), (String ((Ascii (true, false, true, false, true, true, true,
-      false)), (String ((Ascii (true, false, true, true, false, true, true,
-      false)), (String ((Ascii (false, true, true, false, false, false, true,
-      false)), (String ((Ascii (true, false, false, true, false, true, true,
-      false)), (String ((Ascii (true, false, true, false, false, true, true,
-      false)), (String ((Ascii (false, false, true, true, false, true, true,
-      false)), (String ((Ascii (false, false, true, false, false, true, true,
-      false)), EmptyString)))))))))))))))))))))))))) :: [])) :: ((mkcut (S (S
-                                                                   (S (S (S
-                                                                   (S (S (S
-                                                                   (S (S (S
-                                                                   (S (S (S
-                                                                   (S (S (S
-                                                                   (S (S (S
-                                                                   (S (S (S
-                                                                   (S (S (S
-                                                                   (S (S (S
-                                                                   (S (S (S
-                                                                   (S (S (S
-                                                                   (S (S (S
-                                                                   (S (S
-                                                                   O))))))))))))))))))))))))))))))))))))))))
-                                                                   (S (S (S
-                                                                   (S (S (S
-                                                                   (S (S (S
-                                                                   (S (S (S
-                                                                   (S (S (S
-                                                                   (S (S (S
-                                                                   (S (S (S
-                                                                   (S (S (S
-                                                                   (S (S (S
-                                                                   (S (S (S
-                                                                   (S (S (S
-                                                                   (S (S (S
-                                                                   (S (S (S
-                                                                   (S (S (S
-                                                                   (S (S (S
-                                                                   (S (S (S
-                                                                   (S (S (S
-                                                                   (S (S (S
-                                                                   (S (S (S
-                                                                   (S (S (S
-                                                                   O))))))))))))))))))))))))))))))))))))))))))))))))))))))))))))
-                                                                   (String
-                                                                   ((Ascii
-                                                                   (false,
-                                                                   false,
-                                                                   true,
-                                                                   false,
-                                                                   true,
-                                                                   false,
-                                                                   true,
-                                                                   false)),
-                                                                   (String
-                                                                   ((Ascii
-                                                                   (true,
-                                                                   true,
-                                                                   true,
-                                                                   true,
-                                                                   false,
-                                                                   true,
-                                                                   true,
-                                                                   false)),
-                                                                   (String
-                                                                   ((Ascii
-                                                                   (false,
-                                                                   false,
-                                                                   true,
-                                                                   false,
-                                                                   true,
-                                                                   true,
-                                                                   true,
-                                                                   false)),
-                                                                   (String
-                                                                   ((Ascii
-                                                                   (true,
-                                                                   false,
-                                                                   false,
-                                                                   false,
-                                                                   false,
-                                                                   true,
-                                                                   true,
-                                                                   false)),
-                                                                   (String
-                                                                   ((Ascii
-                                                                   (false,
-                                                                   false,
-                                                                   true,
-                                                                   true,
-                                                                   false,
-                                                                   true,
-                                                                   true,
-                                                                   false)),
-                                                                   (String
-                                                                   ((Ascii
-                                                                   (true,
-                                                                   true,
-                                                                   false,
-                                                                   false,
-                                                                   false,
-                                                                   false,
-                                                                   true,
-                                                                   false)),
-                                                                   (String
-                                                                   ((Ascii
-                                                                   (false,
-                                                                   true,
-                                                                   false,
-                                                                   false,
-                                                                   true,
-                                                                   true,
-                                                                   true,
-                                                                   false)),
-                                                                   (String
-                                                                   ((Ascii
-                                                                   (true,
-                                                                   false,
-                                                                   true,
-                                                                   false,
-                                                                   false,
-                                                                   true,
-                                                                   true,
-                                                                   false)),
-                                                                   (String
-                                                                   ((Ascii
-                                                                   (false,
-                                                                   false,
-                                                                   true,
-                                                                   false,
-                                                                   false,
-                                                                   true,
-                                                                   true,
-                                                                   false)),
-                                                                   (String
-                                                                   ((Ascii
-                                                                   (true,
-                                                                   false,
-                                                                   false,
-                                                                   true,
-                                                                   false,
-                                                                   true,
-                                                                   true,
-                                                                   false)),
-                                                                   (String
-                                                                   ((Ascii
-                                                                   (false,
-                                                                   false,
-                                                                   true,
-                                                                   false,
-                                                                   true,
-                                                                   true,
-                                                                   true,
-                                                                   false)),
-                                                                   (String
-                                                                   ((Ascii
-                                                                   (true,
-                                                                   false,
-                                                                   true,
-                                                                   false,
-                                                                   false,
-                                                                   false,
-                                                                   true,
-                                                                   false)),
-                                                                   (String
-                                                                   ((Ascii
-                                                                   (false,
-                                                                   true,
-                                                                   true,
-                                                                   true,
-                                                                   false,
-                                                                   true,
-                                                                   true,
-                                                                   false)),
-                                                                   (String
-                                                                   ((Ascii
-                                                                   (false,
-                                                                   false,
-                                                                   true,
-                                                                   false,
-                                                                   true,
-                                                                   true,
-                                                                   true,
-                                                                   false)),
-                                                                   (String
-                                                                   ((Ascii
-                                                                   (false,
-                                                                   true,
-                                                                   false,
-                                                                   false,
-                                                                   true,
-                                                                   true,
-                                                                   true,
-                                                                   false)),
-                                                                   (String
-                                                                   ((Ascii
-                                                                   (true,
-                                                                   false,
-                                                                   false,
-                                                                   true,
-                                                                   true,
-                                                                   true,
-                                                                   true,
-                                                                   false)),
-                                                                   (String
-                                                                   ((Ascii
-                                                                   (false,
-                                                                   false,
-                                                                   true,
-                                                                   false,
-                                                                   false,
-                                                                   false,
-                                                                   true,
-                                                                   false)),
-                                                                   (String
-                                                                   ((Ascii
-                                                                   (true,
-                                                                   true,
-                                                                   true,
-                                                                   true,
-                                                                   false,
-                                                                   true,
-                                                                   true,
-                                                                   false)),
-                                                                   (String
-                                                                   ((Ascii
-                                                                   (false,
-                                                                   false,
-                                                                   true,
-                                                                   true,
-                                                                   false,
-                                                                   true,
-                                                                   true,
-                                                                   false)),
-                                                                   (String
-                                                                   ((Ascii
-                                                                   (false,
-                                                                   false,
-                                                                   true,
-                                                                   true,
-                                                                   false,
-                                                                   true,
-                                                                   true,
-                                                                   false)),
-                                                                   (String
-                                                                   ((Ascii
-                                                                   (true,
-                                                                   false,
-                                                                   false,
-                                                                   false,
-                                                                   false,
-                                                                   true,
-                                                                   true,
-                                                                   false)),
-                                                                   (String
-                                                                   ((Ascii
-                                                                   (false,
-                                                                   true,
-                                                                   false,
-                                                                   false,
-                                                                   true,
-                                                                   true,
-                                                                   true,
-                                                                   false)),
-                                                                   (String
-                                                                   ((Ascii
-                                                                   (true,
-                                                                   false,
-                                                                   false,
-                                                                   false,
-                                                                   false,
-                                                                   false,
-                                                                   true,
-                                                                   false)),
-                                                                   (String
-                                                                   ((Ascii
-                                                                   (true,
-                                                                   false,
-                                                                   true,
-                                                                   true,
-                                                                   false,
-                                                                   true,
-                                                                   true,
-                                                                   false)),
-                                                                   (String
-                                                                   ((Ascii
-                                                                   (true,
-                                                                   true,
-                                                                   true,
-                                                                   true,
-                                                                   false,
-                                                                   true,
-                                                                   true,
-                                                                   false)),
-                                                                   (String
-                                                                   ((Ascii
-                                                                   (true,
-                                                                   false,
-                                                                   true,
-                                                                   false,
-                                                                   true,
-                                                                   true,
-                                                                   true,
-                                                                   false)),
-                                                                   (String
-                                                                   ((Ascii
-                                                                   (false,
-                                                                   true,
-                                                                   true,
-                                                                   true,
-                                                                   false,
-                                                                   true,
-                                                                   true,
-                                                                   false)),
-                                                                   (String
-                                                                   ((Ascii
-                                                                   (false,
-                                                                   false,
-                                                                   true,
-                                                                   false,
-                                                                   true,
-                                                                   true,
-                                                                   true,
-                                                                   false)),
-                                                                   EmptyString))))))))))))))))))))))))))))))))))))))))))))))))))))))))
-                                                                   ((String
-                                                                   ((Ascii
-                                                                   (false,
-                                                                   false,
-                                                                   false,
-                                                                   false,
-                                                                   true,
-                                                                   true,
-                                                                   true,
-                                                                   false)),
-                                                                   (String
-                                                                   ((Ascii
-                                                                   (true,
-                                                                   false,
-                                                                   false,
-                                                                   false,
-                                                                   false,
-                                                                   true,
-                                                                   true,
-                                                                   false)),
-                                                                   (String
-                                                                   ((Ascii
-                                                                   (false,
-                                                                   true,
-                                                                   false,
-                                                                   false,
-                                                                   true,
-                                                                   true,
-                                                                   true,
-                                                                   false)),
-                                                                   (String
-                                                                   ((Ascii
-                                                                   (true,
-                                                                   true,
-                                                                   false,
-                                                                   false,
-                                                                   true,
-                                                                   true,
-                                                                   true,
-                                                                   false)),
-                                                                   (String
-                                                                   ((Ascii
-                                                                   (true,
-                                                                   false,
-                                                                   true,
-                                                                   false,
-                                                                   false,
-                                                                   true,
-                                                                   true,
-                                                                   false)),
-                                                                   (String
-                                                                   ((Ascii
-                                                                   (false,
-                                                                   true,
-                                                                   true,
-                                                                   true,
-                                                                   false,
-                                                                   false,
-                                                                   true,
-                                                                   false)),
-                                                                   (String
-                                                                   ((Ascii
-                                                                   (true,
-                                                                   false,
-                                                                   true,
-                                                                   false,
-                                                                   true,
-                                                                   true,
-                                                                   true,
-                                                                   false)),
-                                                                   (String
-                                                                   ((Ascii
-                                                                   (true,
-                                                                   false,
-                                                                   true,
-                                                                   true,
-                                                                   false,
-                                                                   true,
-                                                                   true,
-                                                                   false)),
-                                                                   (String
-                                                                   ((Ascii
-                                                                   (false,
-                                                                   true,
-                                                                   true,
-                                                                   false,
-                                                                   false,
-                                                                   false,
-                                                                   true,
-                                                                   false)),
-                                                                   (String
-                                                                   ((Ascii
-                                                                   (true,
-                                                                   false,
-                                                                   false,
-                                                                   true,
-                                                                   false,
-                                                                   true,
-                                                                   true,
-                                                                   false)),
-                                                                   (String
-                                                                   ((Ascii
-                                                                   (true,
-                                                                   false,
-                                                                   true,
-                                                                   false,
-                                                                   false,
-                                                                   true,
-                                                                   true,
-                                                                   false)),
-                                                                   (String
-                                                                   ((Ascii
-                                                                   (false,
-                                                                   false,
-                                                                   true,
-                                                                   true,
-                                                                   false,
-                                                                   true,
-                                                                   true,
-                                                                   false)),
-                                                                   (String
-                                                                   ((Ascii
-                                                                   (false,
-                                                                   false,
-                                                                   true,
-                                                                   false,
-                                                                   false,
-                                                                   true,
-                                                                   true,
-                                                                   false)),
-                                                                   EmptyString)))))))))))))))))))))))))) :: [])) :: (
-    (mkcut (S (S (S (S (S (S (S (S (S (S (S (S (S (S (S (S (S (S (S (S (S (S
-      (S (S (S (S (S (S (S (S (S (S (S (S (S (S (S (S (S (S (S (S (S (S (S (S
-      (S (S (S (S (S (S (S (S (S (S (S (S (S (S
-      O)))))))))))))))))))))))))))))))))))))))))))))))))))))))))))) (S (S (S
-      (S (S (S (S (S (S (S (S (S (S (S (S (S (S (S (S (S (S (S (S (S (S (S (S
-      (S (S (S (S (S (S (S (S (S (S (S (S (S (S (S (S (S (S (S (S (S (S (S (S
-      (S (S (S (S (S (S (S (S (S (S (S (S (S (S (S (S (S (S (S (S (S (S (S (S
-      (S (S (S (S
-      O)))))))))))))))))))))))))))))))))))))))))))))))))))))))))))))))))))))))))))))))
-      (String ((Ascii (true, false, false, false, false, false, true,
-      false)), (String ((Ascii (true, true, false, false, false, false, true,
-      false)), (String ((Ascii (false, false, false, true, false, false,
-      true, false)), (String ((Ascii (true, true, true, true, false, false,
-      true, false)), (String ((Ascii (false, false, false, false, true, true,
-      true, false)), (String ((Ascii (true, false, true, false, false, true,
-      true, false)), (String ((Ascii (false, true, false, false, true, true,
-      true, false)), (String ((Ascii (true, false, false, false, false, true,
-      true, false)), (String ((Ascii (false, false, true, false, true, true,
-      true, false)), (String ((Ascii (true, true, true, true, false, true,
-      true, false)), (String ((Ascii (false, true, false, false, true, true,
-      true, false)), (String ((Ascii (false, false, true, false, false,
-      false, true, false)), (String ((Ascii (true, false, false, false,
-      false, true, true, false)), (String ((Ascii (false, false, true, false,
-      true, true, true, false)), (String ((Ascii (true, false, false, false,
-      false, true, true, false)), EmptyString))))))))))))))))))))))))))))))
-      ((String ((Ascii (true, true, false, false, true, true, true, false)),
-      (String ((Ascii (false, false, true, false, true, true, true, false)),
-      (String ((Ascii (false, true, false, false, true, true, true, false)),
-      (String ((Ascii (true, false, false, true, false, true, true, false)),
-      (String ((Ascii (false, true, true, true, false, true, true, false)),
-      (String ((Ascii (true, true, true, false, false, true, true, false)),
-      (String ((Ascii (true, true, false, false, true, true, true, false)),
-      (String ((Ascii (false, true, true, true, false, true, false, false)),
-      (String ((Ascii (false, false, true, false, true, false, true, false)),
-      (String ((Ascii (false, true, false, false, true, true, true, false)),
-      (String ((Ascii (true, false, false, true, false, true, true, false)),
-      (String ((Ascii (true, false, true, true, false, true, true, false)),
-      (String ((Ascii (true, true, false, false, true, false, true, false)),
-      (String ((Ascii (false, false, false, false, true, true, true, false)),
-      (String ((Ascii (true, false, false, false, false, true, true, false)),
-      (String ((Ascii (true, true, false, false, false, true, true, false)),
-      (String ((Ascii (true, false, true, false, false, true, true, false)),
-      EmptyString)))))))))))))))))))))))))))))))))) :: [])) :: ((mkcut (S (S
-                                                                  (S (S (S (S
-                                                                  (S (S (S (S
-                                                                  (S (S (S (S
-                                                                  (S (S (S (S
-                                                                  (S (S (S (S
-                                                                  (S (S (S (S
-                                                                  (S (S (S (S
-                                                                  (S (S (S (S
-                                                                  (S (S (S (S
-                                                                  (S (S (S (S
-                                                                  (S (S (S (S
-                                                                  (S (S (S (S
-                                                                  (S (S (S (S
-                                                                  (S (S (S (S
-                                                                  (S (S (S (S
-                                                                  (S (S (S (S
-                                                                  (S (S (S (S
-                                                                  (S (S (S (S
-                                                                  (S (S (S (S
-                                                                  (S
-                                                                  O)))))))))))))))))))))))))))))))))))))))))))))))))))))))))))))))))))))))))))))))
-                                                                  (S (S (S (S
-                                                                  (S (S (S (S
-                                                                  (S (S (S (S
-                                                                  (S (S (S (S
-                                                                  (S (S (S (S
-                                                                  (S (S (S (S
-                                                                  (S (S (S (S
-                                                                  (S (S (S (S
-                                                                  (S (S (S (S
-                                                                  (S (S (S (S
-                                                                  (S (S (S (S
-                                                                  (S (S (S (S
-                                                                  (S (S (S (S
-                                                                  (S (S (S (S
-                                                                  (S (S (S (S
-                                                                  (S (S (S (S
-                                                                  (S (S (S (S
-                                                                  (S (S (S (S
-                                                                  (S (S (S (S
-                                                                  (S (S (S (S
-                                                                  (S (S (S (S
-                                                                  (S (S (S
-                                                                  O)))))))))))))))))))))))))))))))))))))))))))))))))))))))))))))))))))))))))))))))))))))))
-                                                                  (String
-                                                                  ((Ascii
-                                                                  (true,
-                                                                  true, true,
-                                                                  true,
-                                                                  false,
-                                                                  false,
-                                                                  true,
-                                                                  false)),
-                                                                  (String
-                                                                  ((Ascii
-                                                                  (false,
-                                                                  false,
-                                                                  true,
-                                                                  false,
-                                                                  false,
-                                                                  false,
-                                                                  true,
-                                                                  false)),
-                                                                  (String
-                                                                  ((Ascii
-                                                                  (false,
-                                                                  true, true,
-                                                                  false,
-                                                                  false,
-                                                                  false,
-                                                                  true,
-                                                                  false)),
-                                                                  (String
-                                                                  ((Ascii
-                                                                  (true,
-                                                                  false,
-                                                                  false,
-                                                                  true,
-                                                                  false,
-                                                                  false,
-                                                                  true,
-                                                                  false)),
-                                                                  (String
-                                                                  ((Ascii
-                                                                  (true,
-                                                                  false,
-                                                                  false,
-                                                                  true,
-                                                                  false,
-                                                                  false,
-                                                                  true,
-                                                                  false)),
-                                                                  (String
-                                                                  ((Ascii
-                                                                  (false,
-                                                                  false,
-                                                                  true,
-                                                                  false,
-                                                                  false,
-                                                                  true, true,
-                                                                  false)),
-                                                                  (String
-                                                                  ((Ascii
-                                                                  (true,
-                                                                  false,
-                                                                  true,
-                                                                  false,
-                                                                  false,
-                                                                  true, true,
-                                                                  false)),
-                                                                  (String
-                                                                  ((Ascii
-                                                                  (false,
-                                                                  true, true,
-                                                                  true,
-                                                                  false,
-                                                                  true, true,
-                                                                  false)),
-                                                                  (String
-                                                                  ((Ascii
-                                                                  (false,
-                                                                  false,
-                                                                  true,
-                                                                  false,
-                                                                  true, true,
-                                                                  true,
-                                                                  false)),
-                                                                  (String
-                                                                  ((Ascii
-                                                                  (true,
-                                                                  false,
-                                                                  false,
-                                                                  true,
-                                                                  false,
-                                                                  true, true,
-                                                                  false)),
-                                                                  (String
-                                                                  ((Ascii
-                                                                  (false,
-                                                                  true, true,
-                                                                  false,
-                                                                  false,
-                                                                  true, true,
-                                                                  false)),
-                                                                  (String
-                                                                  ((Ascii
-                                                                  (true,
-                                                                  false,
-                                                                  false,
-                                                                  true,
-                                                                  false,
-                                                                  true, true,
-                                                                  false)),
-                                                                  (String
-                                                                  ((Ascii
-                                                                  (true,
-                                                                  true,
-                                                                  false,
-                                                                  false,
-                                                                  false,
-                                                                  true, true,
-                                                                  false)),
-                                                                  (String
-                                                                  ((Ascii
-                                                                  (true,
-                                                                  false,
-                                                                  false,
-                                                                  false,
-                                                                  false,
-                                                                  true, true,
-                                                                  false)),
-                                                                  (String
-                                                                  ((Ascii
-                                                                  (false,
-                                                                  false,
-                                                                  true,
-                                                                  false,
-                                                                  true, true,
-                                                                  true,
-                                                                  false)),
-                                                                  (String
-                                                                  ((Ascii
-                                                                  (true,
-                                                                  false,
-                                                                  false,
-                                                                  true,
-                                                                  false,
-                                                                  true, true,
-                                                                  false)),
-                                                                  (String
-                                                                  ((Ascii
-                                                                  (true,
-                                                                  true, true,
-                                                                  true,
-                                                                  false,
-                                                                  true, true,
-                                                                  false)),
-                                                                  (String
-                                                                  ((Ascii
-                                                                  (false,
-                                                                  true, true,
-                                                                  true,
-                                                                  false,
-                                                                  true, true,
-                                                                  false)),
-                                                                  EmptyString))))))))))))))))))))))))))))))))))))
-                                                                  ((String
-                                                                  ((Ascii
-                                                                  (false,
-                                                                  false,
-                                                                  false,
-                                                                  false,
-                                                                  true, true,
-                                                                  true,
-                                                                  false)),
-                                                                  (String
-                                                                  ((Ascii
-                                                                  (true,
-                                                                  false,
-                                                                  false,
-                                                                  false,
-                                                                  false,
-                                                                  true, true,
-                                                                  false)),
-                                                                  (String
-                                                                  ((Ascii
-                                                                  (false,
-                                                                  true,
-                                                                  false,
-                                                                  false,
-                                                                  true, true,
-                                                                  true,
-                                                                  false)),
-                                                                  (String
-                                                                  ((Ascii
-                                                                  (true,
-                                                                  true,
-                                                                  false,
-                                                                  false,
-                                                                  true, true,
-                                                                  true,
-                                                                  false)),
-                                                                  (String
-                                                                  ((Ascii
-                                                                  (true,
-                                                                  false,
-                                                                  true,
-                                                                  false,
-                                                                  false,
-                                                                  true, true,
-                                                                  false)),
-                                                                  (String
-                                                                  ((Ascii
-                                                                  (true,
-                                                                  true,
-                                                                  false,
-                                                                  false,
-                                                                  true,
-                                                                  false,
-                                                                  true,
-                                                                  false)),
-                                                                  (String
-                                                                  ((Ascii
-                                                                  (false,
-                                                                  false,
-                                                                  true,
-                                                                  false,
-                                                                  true, true,
-                                                                  true,
-                                                                  false)),
-                                                                  (String
-                                                                  ((Ascii
-                                                                  (false,
-                                                                  true,
-                                                                  false,
-                                                                  false,
-                                                                  true, true,
-                                                                  true,
-                                                                  false)),
-                                                                  (String
-                                                                  ((Ascii
-                                                                  (true,
-                                                                  false,
-                                                                  false,
-                                                                  true,
-                                                                  false,
-                                                                  true, true,
-                                                                  false)),
-                                                                  (String
-                                                                  ((Ascii
-                                                                  (false,
-                                                                  true, true,
-                                                                  true,
-                                                                  false,
-                                                                  true, true,
-                                                                  false)),
-                                                                  (String
-                                                                  ((Ascii
-                                                                  (true,
-                                                                  true, true,
-                                                                  false,
-                                                                  false,
-                                                                  true, true,
-                                                                  false)),
-                                                                  (String
-                                                                  ((Ascii
-                                                                  (false,
-                                                                  true, true,
-                                                                  false,
-                                                                  false,
-                                                                  false,
-                                                                  true,
-                                                                  false)),
-                                                                  (String
-                                                                  ((Ascii
-                                                                  (true,
-                                                                  false,
-                                                                  false,
-                                                                  true,
-                                                                  false,
-                                                                  true, true,
-                                                                  false)),
-                                                                  (String
-                                                                  ((Ascii
-                                                                  (true,
-                                                                  false,
-                                                                  true,
-                                                                  false,
-                                                                  false,
-                                                                  true, true,
-                                                                  false)),
-                                                                  (String
-                                                                  ((Ascii
-                                                                  (false,
-                                                                  false,
-                                                                  true, true,
-                                                                  false,
-                                                                  true, true,
-                                                                  false)),
-                                                                  (String
-                                                                  ((Ascii
-                                                                  (false,
-                                                                  false,
-                                                                  true,
-                                                                  false,
-                                                                  false,
-                                                                  true, true,
-                                                                  false)),
-                                                                  EmptyString)))))))))))))))))))))))))))))))) :: [])) :: (
-    (mkcut (S (S (S (S (S (S (S (S (S (S (S (S (S (S (S (S (S (S (S (S (S (S
-      (S (S (S (S (S (S (S (S (S (S (S (S (S (S (S (S (S (S (S (S (S (S (S (S
-      (S (S (S (S (S (S (S (S (S (S (S (S (S (S (S (S (S (S (S (S (S (S (S (S
-      (S (S (S (S (S (S (S (S (S (S (S (S (S (S (S (S (S
-      O)))))))))))))))))))))))))))))))))))))))))))))))))))))))))))))))))))))))))))))))))))))))
-      (S (S (S (S (S (S (S (S (S (S (S (S (S (S (S (S (S (S (S (S (S (S (S (S
-      (S (S (S (S (S (S (S (S (S (S (S (S (S (S (S (S (S (S (S (S (S (S (S (S
-      (S (S (S (S (S (S (S (S (S (S (S (S (S (S (S (S (S (S (S (S (S (S (S (S
-      (S (S (S (S (S (S (S (S (S (S (S (S (S (S (S (S (S (S (S (S (S (S
-      O))))))))))))))))))))))))))))))))))))))))))))))))))))))))))))))))))))))))))))))))))))))))))))))
-      (String ((Ascii (false, true, false, false, false, false, true,
-      false)), (String ((Ascii (true, false, false, false, false, true, true,
-      false)), (String ((Ascii (false, false, true, false, true, true, true,
-      false)), (String ((Ascii (true, true, false, false, false, true, true,
-      false)), (String ((Ascii (false, false, false, true, false, true, true,
-      false)), (String ((Ascii (false, true, true, true, false, false, true,
-      false)), (String ((Ascii (true, false, true, false, true, true, true,
-      false)), (String ((Ascii (true, false, true, true, false, true, true,
-      false)), (String ((Ascii (false, true, false, false, false, true, true,
-      false)), (String ((Ascii (true, false, true, false, false, true, true,
-      false)), (String ((Ascii (false, true, false, false, true, true, true,
-      false)), EmptyString)))))))))))))))))))))) ((String ((Ascii (false,
-      false, false, false, true, true, true, false)), (String ((Ascii (true,
-      false, false, false, false, true, true, false)), (String ((Ascii
-      (false, true, false, false, true, true, true, false)), (String ((Ascii
-      (true, true, false, false, true, true, true, false)), (String ((Ascii
-      (true, false, true, false, false, true, true, false)), (String ((Ascii
-      (false, true, true, true, false, false, true, false)), (String ((Ascii
-      (true, false, true, false, true, true, true, false)), (String ((Ascii
-      (true, false, true, true, false, true, true, false)), (String ((Ascii
-      (false, true, true, false, false, false, true, false)), (String ((Ascii
-      (true, false, false, true, false, true, true, false)), (String ((Ascii
-      (true, false, true, false, false, true, true, false)), (String ((Ascii
-      (false, false, true, true, false, true, true, false)), (String ((Ascii
-      (false, false, true, false, false, true, true, false)),
-      EmptyString)))))))))))))))))))))))))) :: [])) :: []))))))))) }
+type wpolicy = { p_wl_line : handler; p_wl_le : handler;
+                 p_wl_flush : handler; p_thresh : n; p_api_flush : handler;
+                 p_hdr : handler; p_body : handler; p_ctl : handler;
+                 p_pad_line : handler; p_pad_le : handler; p_final : 
+                 handler }
 
-(** val l_ADVEntryDetail : layout **)
+type act =
+| Cont
+| Ret of werr option
 
-let l_ADVEntryDetail =
-  { l_name = (String ((Ascii (true, false, false, false, false, false, true,
-    false)), (String ((Ascii (false, false, true, false, false, false, true,
-    false)), (String ((Ascii (false, true, true, false, true, false, true,
-    false)), (String ((Ascii (true, false, true, false, false, false, true,
-    false)), (String ((Ascii (false, true, true, true, false, true, true,
-    false)), (String ((Ascii (false, false, true, false, true, true, true,
-    false)), (String ((Ascii (false, true, false, false, true, true, true,
-    false)), (String ((Ascii (true, false, false, true, true, true, true,
-    false)), (String ((Ascii (false, false, true, false, false, false, true,
-    false)), (String ((Ascii (true, false, true, false, false, true, true,
-    false)), (String ((Ascii (false, false, true, false, true, true, true,
-    false)), (String ((Ascii (true, false, false, false, false, true, true,
-    false)), (String ((Ascii (true, false, false, true, false, true, true,
-    false)), (String ((Ascii (false, false, true, true, false, true, true,
-    false)), EmptyString)))))))))))))))))))))))))))); l_ix = IRune; l_segs =
-    ((SLit ((Npos (XO (XI (XI (XO (XI XH)))))) :: [])) :: ((SItoa (String
-    ((Ascii (false, false, true, false, true, false, true, false)), (String
-    ((Ascii (false, true, false, false, true, true, true, false)), (String
-    ((Ascii (true, false, false, false, false, true, true, false)), (String
-    ((Ascii (false, true, true, true, false, true, true, false)), (String
-    ((Ascii (true, true, false, false, true, true, true, false)), (String
-    ((Ascii (true, false, false, false, false, true, true, false)), (String
-    ((Ascii (true, true, false, false, false, true, true, false)), (String
-    ((Ascii (false, false, true, false, true, true, true, false)), (String
-    ((Ascii (true, false, false, true, false, true, true, false)), (String
-    ((Ascii (true, true, true, true, false, true, true, false)), (String
-    ((Ascii (false, true, true, true, false, true, true, false)), (String
-    ((Ascii (true, true, false, false, false, false, true, false)), (String
-    ((Ascii (true, true, true, true, false, true, true, false)), (String
-    ((Ascii (false, false, true, false, false, true, true, false)), (String
-    ((Ascii (true, false, true, false, false, true, true, false)),
-    EmptyString))))))))))))))))))))))))))))))) :: ((SStr ((String ((Ascii
-    (false, true, false, false, true, false, true, false)), (String ((Ascii
-    (false, false, true, false, false, false, true, false)), (String ((Ascii
-    (false, true, true, false, false, false, true, false)), (String ((Ascii
-    (true, false, false, true, false, false, true, false)), (String ((Ascii
-    (true, false, false, true, false, false, true, false)), (String ((Ascii
-    (false, false, true, false, false, true, true, false)), (String ((Ascii
-    (true, false, true, false, false, true, true, false)), (String ((Ascii
-    (false, true, true, true, false, true, true, false)), (String ((Ascii
-    (false, false, true, false, true, true, true, false)), (String ((Ascii
-    (true, false, false, true, false, true, true, false)), (String ((Ascii
-    (false, true, true, false, false, true, true, false)), (String ((Ascii
-    (true, false, false, true, false, true, true, false)), (String ((Ascii
-    (true, true, false, false, false, true, true, false)), (String ((Ascii
-    (true, false, false, false, false, true, true, false)), (String ((Ascii
-    (false, false, true, false, true, true, true, false)), (String ((Ascii
-    (true, false, false, true, false, true, true, false)), (String ((Ascii
-    (true, true, true, true, false, true, true, false)), (String ((Ascii
-    (false, true, true, true, false, true, true, false)),
-    EmptyString)))))))))))))))))))))))))))))))))))), (S (S (S (S (S (S (S (S
-    O)))))))))) :: ((SRaw (String ((Ascii (true, true, false, false, false,
-    false, true, false)), (String ((Ascii (false, false, false, true, false,
-    true, true, false)), (String ((Ascii (true, false, true, false, false,
-    true, true, false)), (String ((Ascii (true, true, false, false, false,
-    true, true, false)), (String ((Ascii (true, true, false, true, false,
-    true, true, false)), (String ((Ascii (false, false, true, false, false,
-    false, true, false)), (String ((Ascii (true, false, false, true, false,
-    true, true, false)), (String ((Ascii (true, true, true, false, false,
-    true, true, false)), (String ((Ascii (true, false, false, true, false,
-    true, true, false)), (String ((Ascii (false, false, true, false, true,
-    true, true, false)), EmptyString))))))))))))))))))))) :: ((SAlpha
-    ((String ((Ascii (false, false, true, false, false, false, true, false)),
-    (String ((Ascii (false, true, true, false, false, false, true, false)),
-    (String ((Ascii (true, false, false, true, false, false, true, false)),
-    (String ((Ascii (true, false, false, false, false, false, true, false)),
-    (String ((Ascii (true, true, false, false, false, true, true, false)),
-    (String ((Ascii (true, true, false, false, false, true, true, false)),
-    (String ((Ascii (true, true, true, true, false, true, true, false)),
-    (String ((Ascii (true, false, true, false, true, true, true, false)),
-    (String ((Ascii (false, true, true, true, false, true, true, false)),
-    (String ((Ascii (false, false, true, false, true, true, true, false)),
-    (String ((Ascii (false, true, true, true, false, false, true, false)),
-    (String ((Ascii (true, false, true, false, true, true, true, false)),
-    (String ((Ascii (true, false, true, true, false, true, true, false)),
-    (String ((Ascii (false, true, false, false, false, true, true, false)),
-    (String ((Ascii (true, false, true, false, false, true, true, false)),
-    (String ((Ascii (false, true, false, false, true, true, true, false)),
-    EmptyString)))))))))))))))))))))))))))))))), (S (S (S (S (S (S (S (S (S
-    (S (S (S (S (S (S O))))))))))))))))) :: ((SNum ((String ((Ascii (true,
-    false, false, false, false, false, true, false)), (String ((Ascii (true,
-    false, true, true, false, true, true, false)), (String ((Ascii (true,
-    true, true, true, false, true, true, false)), (String ((Ascii (true,
-    false, true, false, true, true, true, false)), (String ((Ascii (false,
-    true, true, true, false, true, true, false)), (String ((Ascii (false,
-    false, true, false, true, true, true, false)), EmptyString)))))))))))),
-    (S (S (S (S (S (S (S (S (S (S (S (S O)))))))))))))) :: ((SStr ((String
-    ((Ascii (true, false, false, false, false, false, true, false)), (String
-    ((Ascii (false, false, true, false, false, true, true, false)), (String
-    ((Ascii (false, true, true, false, true, true, true, false)), (String
-    ((Ascii (true, false, false, true, false, true, true, false)), (String
-    ((Ascii (true, true, false, false, false, true, true, false)), (String
-    ((Ascii (true, false, true, false, false, true, true, false)), (String
-    ((Ascii (false, true, false, false, true, false, true, false)), (String
-    ((Ascii (true, true, true, true, false, true, true, false)), (String
-    ((Ascii (true, false, true, false, true, true, true, false)), (String
-    ((Ascii (false, false, true, false, true, true, true, false)), (String
-    ((Ascii (true, false, false, true, false, true, true, false)), (String
-    ((Ascii (false, true, true, true, false, true, true, false)), (String
-    ((Ascii (true, true, true, false, false, true, true, false)), (String
-    ((Ascii (false, true, true, true, false, false, true, false)), (String
-    ((Ascii (true, false, true, false, true, true, true, false)), (String
-    ((Ascii (true, false, true, true, false, true, true, false)), (String
-    ((Ascii (false, true, false, false, false, true, true, false)), (String
-    ((Ascii (true, false, true, false, false, true, true, false)), (String
-    ((Ascii (false, true, false, false, true, true, true, false)),
-    EmptyString)))))))))))))))))))))))))))))))))))))), (S (S (S (S (S (S (S
-    (S (S O))))))))))) :: ((SAlpha ((String ((Ascii (false, true, true,
-    false, false, false, true, false)), (String ((Ascii (true, false, false,
-    true, false, true, true, false)), (String ((Ascii (false, false, true,
-    true, false, true, true, false)), (String ((Ascii (true, false, true,
-    false, false, true, true, false)), (String ((Ascii (true, false, false,
-    true, false, false, true, false)), (String ((Ascii (false, false, true,
-    false, false, true, true, false)), (String ((Ascii (true, false, true,
-    false, false, true, true, false)), (String ((Ascii (false, true, true,
-    true, false, true, true, false)), (String ((Ascii (false, false, true,
-    false, true, true, true, false)), (String ((Ascii (true, false, false,
-    true, false, true, true, false)), (String ((Ascii (false, true, true,
-    false, false, true, true, false)), (String ((Ascii (true, false, false,
-    true, false, true, true, false)), (String ((Ascii (true, true, false,
-    false, false, true, true, false)), (String ((Ascii (true, false, false,
-    false, false, true, true, false)), (String ((Ascii (false, false, true,
-    false, true, true, true, false)), (String ((Ascii (true, false, false,
-    true, false, true, true, false)), (String ((Ascii (true, true, true,
-    true, false, true, true, false)), (String ((Ascii (false, true, true,
-    true, false, true, true, false)),
-    EmptyString)))))))))))))))))))))))))))))))))))), (S (S (S (S (S
-    O))))))) :: ((SAlpha ((String ((Ascii (true, false, false, false, false,
-    false, true, false)), (String ((Ascii (true, true, false, false, false,
-    false, true, false)), (String ((Ascii (false, false, false, true, false,
-    false, true, false)), (String ((Ascii (true, true, true, true, false,
-    false, true, false)), (String ((Ascii (false, false, false, false, true,
-    true, true, false)), (String ((Ascii (true, false, true, false, false,
-    true, true, false)), (String ((Ascii (false, true, false, false, true,
-    true, true, false)), (String ((Ascii (true, false, false, false, false,
-    true, true, false)), (String ((Ascii (false, false, true, false, true,
-    true, true, false)), (String ((Ascii (true, true, true, true, false,
-    true, true, false)), (String ((Ascii (false, true, false, false, true,
-    true, true, false)), (String ((Ascii (false, false, true, false, false,
-    false, true, false)), (String ((Ascii (true, false, false, false, false,
-    true, true, false)), (String ((Ascii (false, false, true, false, true,
-    true, true, false)), (String ((Ascii (true, false, false, false, false,
-    true, true, false)), EmptyString)))))))))))))))))))))))))))))), (S
-    O))) :: ((SAlpha ((String ((Ascii (true, false, false, true, false,
-    false, true, false)), (String ((Ascii (false, true, true, true, false,
-    true, true, false)), (String ((Ascii (false, false, true, false, false,
-    true, true, false)), (String ((Ascii (true, false, false, true, false,
-    true, true, false)), (String ((Ascii (false, true, true, false, true,
-    true, true, false)), (String ((Ascii (true, false, false, true, false,
-    true, true, false)), (String ((Ascii (false, false, true, false, false,
-    true, true, false)), (String ((Ascii (true, false, true, false, true,
-    true, true, false)), (String ((Ascii (true, false, false, false, false,
-    true, true, false)), (String ((Ascii (false, false, true, true, false,
-    true, true, false)), (String ((Ascii (false, true, true, true, false,
-    false, true, false)), (String ((Ascii (true, false, false, false, false,
-    true, true, false)), (String ((Ascii (true, false, true, true, false,
-    true, true, false)), (String ((Ascii (true, false, true, false, false,
-    true, true, false)), EmptyString)))))))))))))))))))))))))))), (S (S (S (S
-    (S (S (S (S (S (S (S (S (S (S (S (S (S (S (S (S (S (S
-    O)))))))))))))))))))))))) :: ((SAlpha ((String ((Ascii (false, false,
-    true, false, false, false, true, false)), (String ((Ascii (true, false,
-    false, true, false, true, true, false)), (String ((Ascii (true, true,
-    false, false, true, true, true, false)), (String ((Ascii (true, true,
-    false, false, false, true, true, false)), (String ((Ascii (false, true,
-    false, false, true, true, true, false)), (String ((Ascii (true, false,
-    true, false, false, true, true, false)), (String ((Ascii (false, false,
-    true, false, true, true, true, false)), (String ((Ascii (true, false,
-    false, true, false, true, true, false)), (String ((Ascii (true, true,
-    true, true, false, true, true, false)), (String ((Ascii (false, true,
-    true, true, false, true, true, false)), (String ((Ascii (true, false,
-    false, false, false, true, true, false)), (String ((Ascii (false, true,
-    false, false, true, true, true, false)), (String ((Ascii (true, false,
-    false, true, true, true, true, false)), (String ((Ascii (false, false,
-    true, false, false, false, true, false)), (String ((Ascii (true, false,
-    false, false, false, true, true, false)), (String ((Ascii (false, false,
-    true, false, true, true, true, false)), (String ((Ascii (true, false,
-    false, false, false, true, true, false)),
-    EmptyString)))))))))))))))))))))))))))))))))), (S (S O)))) :: ((SItoa
-    (String ((Ascii (true, false, false, false, false, false, true, false)),
-    (String ((Ascii (false, false, true, false, false, true, true, false)),
-    (String ((Ascii (false, false, true, false, false, true, true, false)),
-    (String ((Ascii (true, false, true, false, false, true, true, false)),
-    (String ((Ascii (false, true, true, true, false, true, true, false)),
-    (String ((Ascii (false, false, true, false, false, true, true, false)),
-    (String ((Ascii (true, false, false, false, false, true, true, false)),
-    (String ((Ascii (false, true, false, false, true, false, true, false)),
-    (String ((Ascii (true, false, true, false, false, true, true, false)),
-    (String ((Ascii (true, true, false, false, false, true, true, false)),
-    (String ((Ascii (true, true, true, true, false, true, true, false)),
-    (String ((Ascii (false, true, false, false, true, true, true, false)),
-    (String ((Ascii (false, false, true, false, false, true, true, false)),
-    (String ((Ascii (true, false, false, true, false, false, true, false)),
-    (String ((Ascii (false, true, true, true, false, true, true, false)),
-    (String ((Ascii (false, false, true, false, false, true, true, false)),
-    (String ((Ascii (true, false, false, true, false, true, true, false)),
-    (String ((Ascii (true, true, false, false, false, true, true, false)),
-    (String ((Ascii (true, false, false, false, false, true, true, false)),
-    (String ((Ascii (false, false, true, false, true, true, true, false)),
-    (String ((Ascii (true, true, true, true, false, true, true, false)),
-    (String ((Ascii (false, true, false, false, true, true, true, false)),
-    EmptyString))))))))))))))))))))))))))))))))))))))))))))) :: ((SAlpha
-    ((String ((Ascii (true, false, false, false, false, false, true, false)),
-    (String ((Ascii (true, true, false, false, false, false, true, false)),
-    (String ((Ascii (false, false, false, true, false, false, true, false)),
-    (String ((Ascii (true, true, true, true, false, false, true, false)),
-    (String ((Ascii (false, false, false, false, true, true, true, false)),
-    (String ((Ascii (true, false, true, false, false, true, true, false)),
-    (String ((Ascii (false, true, false, false, true, true, true, false)),
-    (String ((Ascii (true, false, false, false, false, true, true, false)),
-    (String ((Ascii (false, false, true, false, true, true, true, false)),
-    (String ((Ascii (true, true, true, true, false, true, true, false)),
-    (String ((Ascii (false, true, false, false, true, true, true, false)),
-    (String ((Ascii (false, true, false, false, true, false, true, false)),
-    (String ((Ascii (true, true, true, true, false, true, true, false)),
-    (String ((Ascii (true, false, true, false, true, true, true, false)),
-    (String ((Ascii (false, false, true, false, true, true, true, false)),
-    (String ((Ascii (true, false, false, true, false, true, true, false)),
-    (String ((Ascii (false, true, true, true, false, true, true, false)),
-    (String ((Ascii (true, true, true, false, false, true, true, false)),
-    (String ((Ascii (false, true, true, true, false, false, true, false)),
-    (String ((Ascii (true, false, true, false, true, true, true, false)),
-    (String ((Ascii (true, false, true, true, false, true, true, false)),
-    (String ((Ascii (false, true, false, false, false, true, true, false)),
-    (String ((Ascii (true, false, true, false, false, true, true, false)),
-    (String ((Ascii (false, true, false, false, true, true, true, false)),
-    EmptyString)))))))))))))))))))))))))))))))))))))))))))))))), (S (S (S (S
-    (S (S (S (S O)))))))))) :: ((SNum ((String ((Ascii (false, true, false,
-    true, false, false, true, false)), (String ((Ascii (true, false, true,
-    false, true, true, true, false)), (String ((Ascii (false, false, true,
-    true, false, true, true, false)), (String ((Ascii (true, false, false,
-    true, false, true, true, false)), (String ((Ascii (true, false, false,
-    false, false, true, true, false)), (String ((Ascii (false, true, true,
-    true, false, true, true, false)), (String ((Ascii (false, false, true,
-    false, false, false, true, false)), (String ((Ascii (true, false, false,
-    false, false, true, true, false)), (String ((Ascii (true, false, false,
-    true, true, true, true, false)), EmptyString)))))))))))))))))), (S (S (S
-    O))))) :: ((SNum ((String ((Ascii (true, true, false, false, true, false,
-    true, false)), (String ((Ascii (true, false, true, false, false, true,
-    true, false)), (String ((Ascii (true, false, false, false, true, true,
-    true, false)), (String ((Ascii (true, false, true, false, true, true,
-    true, false)), (String ((Ascii (true, false, true, false, false, true,
-    true, false)), (String ((Ascii (false, true, true, true, false, true,
-    true, false)), (String ((Ascii (true, true, false, false, false, true,
-    true, false)), (String ((Ascii (true, false, true, false, false, true,
-    true, false)), (String ((Ascii (false, true, true, true, false, false,
-    true, false)), (String ((Ascii (true, false, true, false, true, true,
-    true, false)), (String ((Ascii (true, false, true, true, false, true,
-    true, false)), (String ((Ascii (false, true, false, false, false, true,
-    true, false)), (String ((Ascii (true, false, true, false, false, true,
-    true, false)), (String ((Ascii (false, true, false, false, true, true,
-    true, false)), EmptyString)))))))))))))))))))))))))))), (S (S (S (S
-    O)))))) :: []))))))))))))))); l_cuts =
-    ((mkcut (S O) (S (S (S O))) (String ((Ascii (false, false, true, false,
-       true, false, true, false)), (String ((Ascii (false, true, false,
-       false, true, true, true, false)), (String ((Ascii (true, false, false,
-       false, false, true, true, false)), (String ((Ascii (false, true, true,
-       true, false, true, true, false)), (String ((Ascii (true, true, false,
-       false, true, true, true, false)), (String ((Ascii (true, false, false,
-       false, false, true, true, false)), (String ((Ascii (true, true, false,
-       false, false, true, true, false)), (String ((Ascii (false, false,
-       true, false, true, true, true, false)), (String ((Ascii (true, false,
-       false, true, false, true, true, false)), (String ((Ascii (true, true,
-       true, true, false, true, true, false)), (String ((Ascii (false, true,
-       true, true, false, true, true, false)), (String ((Ascii (true, true,
-       false, false, false, false, true, false)), (String ((Ascii (true,
-       true, true, true, false, true, true, false)), (String ((Ascii (false,
-       false, true, false, false, true, true, false)), (String ((Ascii (true,
-       false, true, false, false, true, true, false)),
-       EmptyString)))))))))))))))))))))))))))))) ((String ((Ascii (false,
-       false, false, false, true, true, true, false)), (String ((Ascii (true,
-       false, false, false, false, true, true, false)), (String ((Ascii
-       (false, true, false, false, true, true, true, false)), (String ((Ascii
-       (true, true, false, false, true, true, true, false)), (String ((Ascii
-       (true, false, true, false, false, true, true, false)), (String ((Ascii
-       (false, true, true, true, false, false, true, false)), (String ((Ascii
-       (true, false, true, false, true, true, true, false)), (String ((Ascii
-       (true, false, true, true, false, true, true, false)), (String ((Ascii
-       (false, true, true, false, false, false, true, false)), (String
-       ((Ascii (true, false, false, true, false, true, true, false)), (String
-       ((Ascii (true, false, true, false, false, true, true, false)), (String
-       ((Ascii (false, false, true, true, false, true, true, false)), (String
-       ((Ascii (false, false, true, false, false, true, true, false)),
-       EmptyString)))))))))))))))))))))))))) :: [])) :: ((mkcut (S (S (S O)))
-                                                           (S (S (S (S (S (S
-                                                           (S (S (S (S (S
-                                                           O)))))))))))
-                                                           (String ((Ascii
-                                                           (false, true,
-                                                           false, false,
-                                                           true, false, true,
-                                                           false)), (String
-                                                           ((Ascii (false,
-                                                           false, true,
-                                                           false, false,
-                                                           false, true,
-                                                           false)), (String
-                                                           ((Ascii (false,
-                                                           true, true, false,
-                                                           false, false,
-                                                           true, false)),
-                                                           (String ((Ascii
-                                                           (true, false,
-                                                           false, true,
-                                                           false, false,
-                                                           true, false)),
-                                                           (String ((Ascii
-                                                           (true, false,
-                                                           false, true,
-                                                           false, false,
-                                                           true, false)),
-                                                           (String ((Ascii
-                                                           (false, false,
-                                                           true, false,
-                                                           false, true, true,
-                                                           false)), (String
-                                                           ((Ascii (true,
-                                                           false, true,
-                                                           false, false,
-                                                           true, true,
-                                                           false)), (String
-                                                           ((Ascii (false,
-                                                           true, true, true,
-                                                           false, true, true,
-                                                           false)), (String
-                                                           ((Ascii (false,
-                                                           false, true,
-                                                           false, true, true,
-                                                           true, false)),
-                                                           (String ((Ascii
-                                                           (true, false,
-                                                           false, true,
-                                                           false, true, true,
-                                                           false)), (String
-                                                           ((Ascii (false,
-                                                           true, true, false,
-                                                           false, true, true,
-                                                           false)), (String
-                                                           ((Ascii (true,
-                                                           false, false,
-                                                           true, false, true,
-                                                           true, false)),
-                                                           (String ((Ascii
-                                                           (true, true,
-                                                           false, false,
-                                                           false, true, true,
-                                                           false)), (String
-                                                           ((Ascii (true,
-                                                           false, false,
-                                                           false, false,
-                                                           true, true,
-                                                           false)), (String
-                                                           ((Ascii (false,
-                                                           false, true,
-                                                           false, true, true,
-                                                           true, false)),
-                                                           (String ((Ascii
-                                                           (true, false,
-                                                           false, true,
-                                                           false, true, true,
-                                                           false)), (String
-                                                           ((Ascii (true,
-                                                           true, true, true,
-                                                           false, true, true,
-                                                           false)), (String
-                                                           ((Ascii (false,
-                                                           true, true, true,
-                                                           false, true, true,
-                                                           false)),
-                                                           EmptyString))))))))))))))))))))))))))))))))))))
-                                                           ((String ((Ascii
-                                                           (false, false,
-                                                           false, false,
-                                                           true, true, true,
-                                                           false)), (String
-                                                           ((Ascii (true,
-                                                           false, false,
-                                                           false, false,
-                                                           true, true,
-                                                           false)), (String
-                                                           ((Ascii (false,
-                                                           true, false,
-                                                           false, true, true,
-                                                           true, false)),
-                                                           (String ((Ascii
-                                                           (true, true,
-                                                           false, false,
-                                                           true, true, true,
-                                                           false)), (String
-                                                           ((Ascii (true,
-                                                           false, true,
-                                                           false, false,
-                                                           true, true,
-                                                           false)), (String
-                                                           ((Ascii (true,
-                                                           true, false,
-                                                           false, true,
-                                                           false, true,
-                                                           false)), (String
-                                                           ((Ascii (false,
-                                                           false, true,
-                                                           false, true, true,
-                                                           true, false)),
-                                                           (String ((Ascii
-                                                           (false, true,
-                                                           false, false,
-                                                           true, true, true,
-                                                           false)), (String
-                                                           ((Ascii (true,
-                                                           false, false,
-                                                           true, false, true,
-                                                           true, false)),
-                                                           (String ((Ascii
-                                                           (false, true,
-                                                           true, true, false,
-                                                           true, true,
-                                                           false)), (String
-                                                           ((Ascii (true,
-                                                           true, true, false,
-                                                           false, true, true,
-                                                           false)), (String
-                                                           ((Ascii (false,
-                                                           true, true, false,
-                                                           false, false,
-                                                           true, false)),
-                                                           (String ((Ascii
-                                                           (true, false,
-                                                           false, true,
-                                                           false, true, true,
-                                                           false)), (String
-                                                           ((Ascii (true,
-                                                           false, true,
-                                                           false, false,
-                                                           true, true,
-                                                           false)), (String
-                                                           ((Ascii (false,
-                                                           false, true, true,
-                                                           false, true, true,
-                                                           false)), (String
-                                                           ((Ascii (false,
-                                                           false, true,
-                                                           false, false,
-                                                           true, true,
-                                                           false)),
-                                                           EmptyString)))))))))))))))))))))))))))))))) :: [])) :: (
-    (mkcut (S (S (S (S (S (S (S (S (S (S (S O))))))))))) (S (S (S (S (S (S (S
-      (S (S (S (S (S O)))))))))))) (String ((Ascii (true, true, false, false,
-      false, false, true, false)), (String ((Ascii (false, false, false,
-      true, false, true, true, false)), (String ((Ascii (true, false, true,
-      false, false, true, true, false)), (String ((Ascii (true, true, false,
-      false, false, true, true, false)), (String ((Ascii (true, true, false,
-      true, false, true, true, false)), (String ((Ascii (false, false, true,
-      false, false, false, true, false)), (String ((Ascii (true, false,
-      false, true, false, true, true, false)), (String ((Ascii (true, true,
-      true, false, false, true, true, false)), (String ((Ascii (true, false,
-      false, true, false, true, true, false)), (String ((Ascii (false, false,
-      true, false, true, true, true, false)), EmptyString))))))))))))))))))))
-      ((String ((Ascii (false, false, false, false, true, true, true,
-      false)), (String ((Ascii (true, false, false, false, false, true, true,
-      false)), (String ((Ascii (false, true, false, false, true, true, true,
-      false)), (String ((Ascii (true, true, false, false, true, true, true,
-      false)), (String ((Ascii (true, false, true, false, false, true, true,
-      false)), (String ((Ascii (true, true, false, false, true, false, true,
-      false)), (String ((Ascii (false, false, true, false, true, true, true,
-      false)), (String ((Ascii (false, true, false, false, true, true, true,
-      false)), (String ((Ascii (true, false, false, true, false, true, true,
-      false)), (String ((Ascii (false, true, true, true, false, true, true,
-      false)), (String ((Ascii (true, true, true, false, false, true, true,
-      false)), (String ((Ascii (false, true, true, false, false, false, true,
-      false)), (String ((Ascii (true, false, false, true, false, true, true,
-      false)), (String ((Ascii (true, false, true, false, false, true, true,
-      false)), (String ((Ascii (false, false, true, true, false, true, true,
-      false)), (String ((Ascii (false, false, true, false, false, true, true,
-      false)), EmptyString)))))))))))))))))))))))))))))))) :: [])) :: (
-    (mkcut (S (S (S (S (S (S (S (S (S (S (S (S O)))))))))))) (S (S (S (S (S
-      (S (S (S (S (S (S (S (S (S (S (S (S (S (S (S (S (S (S (S (S (S (S
-      O))))))))))))))))))))))))))) (String ((Ascii (false, false, true,
-      false, false, false, true, false)), (String ((Ascii (false, true, true,
-      false, false, false, true, false)), (String ((Ascii (true, false,
-      false, true, false, false, true, false)), (String ((Ascii (true, false,
-      false, false, false, false, true, false)), (String ((Ascii (true, true,
-      false, false, false, true, true, false)), (String ((Ascii (true, true,
-      false, false, false, true, true, false)), (String ((Ascii (true, true,
-      true, true, false, true, true, false)), (String ((Ascii (true, false,
-      true, false, true, true, true, false)), (String ((Ascii (false, true,
-      true, true, false, true, true, false)), (String ((Ascii (false, false,
-      true, false, true, true, true, false)), (String ((Ascii (false, true,
-      true, true, false, false, true, false)), (String ((Ascii (true, false,
-      true, false, true, true, true, false)), (String ((Ascii (true, false,
-      true, true, false, true, true, false)), (String ((Ascii (false, true,
-      false, false, false, true, true, false)), (String ((Ascii (true, false,
-      true, false, false, true, true, false)), (String ((Ascii (false, true,
-      false, false, true, true, true, false)),
-      EmptyString)))))))))))))))))))))))))))))))) []) :: ((mkcut (S (S (S (S
-                                                            (S (S (S (S (S (S
-                                                            (S (S (S (S (S (S
-                                                            (S (S (S (S (S (S
-                                                            (S (S (S (S (S
-                                                            O)))))))))))))))))))))))))))
-                                                            (S (S (S (S (S (S
-                                                            (S (S (S (S (S (S
-                                                            (S (S (S (S (S (S
-                                                            (S (S (S (S (S (S
-                                                            (S (S (S (S (S (S
-                                                            (S (S (S (S (S (S
-                                                            (S (S (S
-                                                            O)))))))))))))))))))))))))))))))))))))))
-                                                            (String ((Ascii
-                                                            (true, false,
-                                                            false, false,
-                                                            false, false,
-                                                            true, false)),
-                                                            (String ((Ascii
-                                                            (true, false,
-                                                            true, true,
-                                                            false, true,
-                                                            true, false)),
-                                                            (String ((Ascii
-                                                            (true, true,
-                                                            true, true,
-                                                            false, true,
-                                                            true, false)),
-                                                            (String ((Ascii
-                                                            (true, false,
-                                                            true, false,
-                                                            true, true, true,
-                                                            false)), (String
-                                                            ((Ascii (false,
-                                                            true, true, true,
-                                                            false, true,
-                                                            true, false)),
-                                                            (String ((Ascii
-                                                            (false, false,
-                                                            true, false,
-                                                            true, true, true,
-                                                            false)),
-                                                            EmptyString))))))))))))
-                                                            ((String ((Ascii
-                                                            (false, false,
-                                                            false, false,
-                                                            true, true, true,
-                                                            false)), (String
-                                                            ((Ascii (true,
-                                                            false, false,
-                                                            false, false,
-                                                            true, true,
-                                                            false)), (String
-                                                            ((Ascii (false,
-                                                            true, false,
-                                                            false, true,
-                                                            true, true,
-                                                            false)), (String
-                                                            ((Ascii (true,
-                                                            true, false,
-                                                            false, true,
-                                                            true, true,
-                                                            false)), (String
-                                                            ((Ascii (true,
-                                                            false, true,
-                                                            false, false,
-                                                            true, true,
-                                                            false)), (String
-                                                            ((Ascii (false,
-                                                            true, true, true,
-                                                            false, false,
-                                                            true, false)),
-                                                            (String ((Ascii
-                                                            (true, false,
-                                                            true, false,
-                                                            true, true, true,
-                                                            false)), (String
-                                                            ((Ascii (true,
-                                                            false, true,
-                                                            true, false,
-                                                            true, true,
-                                                            false)), (String
-                                                            ((Ascii (false,
-                                                            true, true,
-                                                            false, false,
-                                                            false, true,
-                                                            false)), (String
-                                                            ((Ascii (true,
-                                                            false, false,
-                                                            true, false,
-                                                            true, true,
-                                                            false)), (String
-                                                            ((Ascii (true,
-                                                            false, true,
-                                                            false, false,
-                                                            true, true,
-                                                            false)), (String
-                                                            ((Ascii (false,
-                                                            false, true,
-                                                            true, false,
-                                                            true, true,
-                                                            false)), (String
-                                                            ((Ascii (false,
-                                                            false, true,
-                                                            false, false,
-                                                            true, true,
-                                                            false)),
-                                                            EmptyString)))))))))))))))))))))))))) :: [])) :: (
-    (mkcut (S (S (S (S (S (S (S (S (S (S (S (S (S (S (S (S (S (S (S (S (S (S
-      (S (S (S (S (S (S (S (S (S (S (S (S (S (S (S (S (S
-      O))))))))))))))))))))))))))))))))))))))) (S (S (S (S (S (S (S (S (S (S
-      (S (S (S (S (S (S (S (S (S (S (S (S (S (S (S (S (S (S (S (S (S (S (S (S
-      (S (S (S (S (S (S (S (S (S (S (S (S (S (S
-      O)))))))))))))))))))))))))))))))))))))))))))))))) (String ((Ascii
-      (true, false, false, false, false, false, true, false)), (String
-      ((Ascii (false, false, true, false, false, true, true, false)), (String
-      ((Ascii (false, true, true, false, true, true, true, false)), (String
-      ((Ascii (true, false, false, true, false, true, true, false)), (String
-      ((Ascii (true, true, false, false, false, true, true, false)), (String
-      ((Ascii (true, false, true, false, false, true, true, false)), (String
-      ((Ascii (false, true, false, false, true, false, true, false)), (String
-      ((Ascii (true, true, true, true, false, true, true, false)), (String
-      ((Ascii (true, false, true, false, true, true, true, false)), (String
-      ((Ascii (false, false, true, false, true, true, true, false)), (String
-      ((Ascii (true, false, false, true, false, true, true, false)), (String
-      ((Ascii (false, true, true, true, false, true, true, false)), (String
-      ((Ascii (true, true, true, false, false, true, true, false)), (String
-      ((Ascii (false, true, true, true, false, false, true, false)), (String
-      ((Ascii (true, false, true, false, true, true, true, false)), (String
-      ((Ascii (true, false, true, true, false, true, true, false)), (String
-      ((Ascii (false, true, false, false, false, true, true, false)), (String
-      ((Ascii (true, false, true, false, false, true, true, false)), (String
-      ((Ascii (false, true, false, false, true, true, true, false)),
-      EmptyString)))))))))))))))))))))))))))))))))))))) ((String ((Ascii
-      (false, false, false, false, true, true, true, false)), (String ((Ascii
-      (true, false, false, false, false, true, true, false)), (String ((Ascii
-      (false, true, false, false, true, true, true, false)), (String ((Ascii
-      (true, true, false, false, true, true, true, false)), (String ((Ascii
-      (true, false, true, false, false, true, true, false)), (String ((Ascii
-      (true, true, false, false, true, false, true, false)), (String ((Ascii
-      (false, false, true, false, true, true, true, false)), (String ((Ascii
-      (false, true, false, false, true, true, true, false)), (String ((Ascii
-      (true, false, false, true, false, true, true, false)), (String ((Ascii
-      (false, true, true, true, false, true, true, false)), (String ((Ascii
-      (true, true, true, false, false, true, true, false)), (String ((Ascii
-      (false, true, true, false, false, false, true, false)), (String ((Ascii
-      (true, false, false, true, false, true, true, false)), (String ((Ascii
-      (true, false, true, false, false, true, true, false)), (String ((Ascii
-      (false, false, true, true, false, true, true, false)), (String ((Ascii
-      (false, false, true, false, false, true, true, false)),
-      EmptyString)))))))))))))))))))))))))))))))) :: [])) :: ((mkcut (S (S (S
-                                                                (S (S (S (S
-                                                                (S (S (S (S
-                                                                (S (S (S (S
-                                                                (S (S (S (S
-                                                                (S (S (S (S
-                                                                (S (S (S (S
-                                                                (S (S (S (S
-                                                                (S (S (S (S
-                                                                (S (S (S (S
-                                                                (S (S (S (S
-                                                                (S (S (S (S
-                                                                (S
-                                                                O))))))))))))))))))))))))))))))))))))))))))))))))
-                                                                (S (S (S (S
-                                                                (S (S (S (S
-                                                                (S (S (S (S
-                                                                (S (S (S (S
-                                                                (S (S (S (S
-                                                                (S (S (S (S
-                                                                (S (S (S (S
-                                                                (S (S (S (S
-                                                                (S (S (S (S
-                                                                (S (S (S (S
-                                                                (S (S (S (S
-                                                                (S (S (S (S
-                                                                (S (S (S (S
-                                                                (S
-                                                                O)))))))))))))))))))))))))))))))))))))))))))))))))))))
-                                                                (String
-                                                                ((Ascii
-                                                                (false, true,
-                                                                true, false,
-                                                                false, false,
-                                                                true,
-                                                                false)),
-                                                                (String
-                                                                ((Ascii
-                                                                (true, false,
-                                                                false, true,
-                                                                false, true,
-                                                                true,
-                                                                false)),
-                                                                (String
-                                                                ((Ascii
-                                                                (false,
-                                                                false, true,
-                                                                true, false,
-                                                                true, true,
-                                                                false)),
-                                                                (String
-                                                                ((Ascii
-                                                                (true, false,
-                                                                true, false,
-                                                                false, true,
-                                                                true,
-                                                                false)),
-                                                                (String
-                                                                ((Ascii
-                                                                (true, false,
-                                                                false, true,
-                                                                false, false,
-                                                                true,
-                                                                false)),
-                                                                (String
-                                                                ((Ascii
-                                                                (false,
-                                                                false, true,
-                                                                false, false,
-                                                                true, true,
-                                                                false)),
-                                                                (String
-                                                                ((Ascii
-                                                                (true, false,
-                                                                true, false,
-                                                                false, true,
-                                                                true,
-                                                                false)),
-                                                                (String
-                                                                ((Ascii
-                                                                (false, true,
-                                                                true, true,
-                                                                false, true,
-                                                                true,
-                                                                false)),
-                                                                (String
-                                                                ((Ascii
-                                                                (false,
-                                                                false, true,
-                                                                false, true,
-                                                                true, true,
-                                                                false)),
-                                                                (String
-                                                                ((Ascii
-                                                                (true, false,
-                                                                false, true,
-                                                                false, true,
-                                                                true,
-                                                                false)),
-                                                                (String
-                                                                ((Ascii
-                                                                (false, true,
-                                                                true, false,
-                                                                false, true,
-                                                                true,
-                                                                false)),
-                                                                (String
-                                                                ((Ascii
-                                                                (true, false,
-                                                                false, true,
-                                                                false, true,
-                                                                true,
-                                                                false)),
-                                                                (String
-                                                                ((Ascii
-                                                                (true, true,
-                                                                false, false,
-                                                                false, true,
-                                                                true,
-                                                                false)),
-                                                                (String
-                                                                ((Ascii
-                                                                (true, false,
-                                                                false, false,
-                                                                false, true,
-                                                                true,
-                                                                false)),
-                                                                (String
-                                                                ((Ascii
-                                                                (false,
-                                                                false, true,
-                                                                false, true,
-                                                                true, true,
-                                                                false)),
-                                                                (String
-                                                                ((Ascii
-                                                                (true, false,
-                                                                false, true,
-                                                                false, true,
-                                                                true,
-                                                                false)),
-                                                                (String
-                                                                ((Ascii
-                                                                (true, true,
-                                                                true, true,
-                                                                false, true,
-                                                                true,
-                                                                false)),
-                                                                (String
-                                                                ((Ascii
-                                                                (false, true,
-                                                                true, true,
-                                                                false, true,
-                                                                true,
-                                                                false)),
-                                                                EmptyString))))))))))))))))))))))))))))))))))))
-                                                                ((String
-                                                                ((Ascii
-                                                                (false,
-                                                                false, false,
-                                                                false, true,
-                                                                true, true,
-                                                                false)),
-                                                                (String
-                                                                ((Ascii
-                                                                (true, false,
-                                                                false, false,
-                                                                false, true,
-                                                                true,
-                                                                false)),
-                                                                (String
-                                                                ((Ascii
-                                                                (false, true,
-                                                                false, false,
-                                                                true, true,
-                                                                true,
-                                                                false)),
-                                                                (String
-                                                                ((Ascii
-                                                                (true, true,
-                                                                false, false,
-                                                                true, true,
-                                                                true,
-                                                                false)),
-                                                                (String
-                                                                ((Ascii
-                                                                (true, false,
-                                                                true, false,
-                                                                false, true,
-                                                                true,
-                                                                false)),
-                                                                (String
-                                                                ((Ascii
-                                                                (true, true,
-                                                                false, false,
-                                                                true, false,
-                                                                true,
-                                                                false)),
-                                                                (String
-                                                                ((Ascii
-                                                                (false,
-                                                                false, true,
-                                                                false, true,
-                                                                true, true,
-                                                                false)),
-                                                                (String
-                                                                ((Ascii
-                                                                (false, true,
-                                                                false, false,
-                                                                true, true,
-                                                                true,
-                                                                false)),
-                                                                (String
-                                                                ((Ascii
-                                                                (true, false,
-                                                                false, true,
-                                                                false, true,
-                                                                true,
-                                                                false)),
-                                                                (String
-                                                                ((Ascii
-                                                                (false, true,
-                                                                true, true,
-                                                                false, true,
-                                                                true,
-                                                                false)),
-                                                                (String
-                                                                ((Ascii
-                                                                (true, true,
-                                                                true, false,
-                                                                false, true,
-                                                                true,
-                                                                false)),
-                                                                (String
-                                                                ((Ascii
-                                                                (false, true,
-                                                                true, false,
-                                                                false, false,
-                                                                true,
-                                                                false)),
-                                                                (String
-                                                                ((Ascii
-                                                                (true, false,
-                                                                false, true,
-                                                                false, true,
-                                                                true,
-                                                                false)),
-                                                                (String
-                                                                ((Ascii
-                                                                (true, false,
-                                                                true, false,
-                                                                false, true,
-                                                                true,
-                                                                false)),
-                                                                (String
-                                                                ((Ascii
-                                                                (false,
-                                                                false, true,
-                                                                true, false,
-                                                                true, true,
-                                                                false)),
-                                                                (String
-                                                                ((Ascii
-                                                                (false,
-                                                                false, true,
-                                                                false, false,
-                                                                true, true,
-                                                                false)),
-                                                                EmptyString)))))))))))))))))))))))))))))))) :: [])) :: (
-    (mkcut (S (S (S (S (S (S (S (S (S (S (S (S (S (S (S (S (S (S (S (S (S (S
-      (S (S (S (S (S (S (S (S (S (S (S (S (S (S (S (S (S (S (S (S (S (S (S (S
-      (S (S (S (S (S (S (S
-      O))))))))))))))))))))))))))))))))))))))))))))))))))))) (S (S (S (S (S
-      (S (S (S (S (S (S (S (S (S (S (S (S (S (S (S (S (S (S (S (S (S (S (S (S
-      (S (S (S (S (S (S (S (S (S (S (S (S (S (S (S (S (S (S (S (S (S (S (S (S
-      (S O)))))))))))))))))))))))))))))))))))))))))))))))))))))) (String
-      ((Ascii (true, false, false, false, false, false, true, false)),
-      (String ((Ascii (true, true, false, false, false, false, true, false)),
-      (String ((Ascii (false, false, false, true, false, false, true,
-      false)), (String ((Ascii (true, true, true, true, false, false, true,
-      false)), (String ((Ascii (false, false, false, false, true, true, true,
-      false)), (String ((Ascii (true, false, true, false, false, true, true,
-      false)), (String ((Ascii (false, true, false, false, true, true, true,
-      false)), (String ((Ascii (true, false, false, false, false, true, true,
-      false)), (String ((Ascii (false, false, true, false, true, true, true,
-      false)), (String ((Ascii (true, true, true, true, false, true, true,
-      false)), (String ((Ascii (false, true, false, false, true, true, true,
-      false)), (String ((Ascii (false, false, true, false, false, false,
-      true, false)), (String ((Ascii (true, false, false, false, false, true,
-      true, false)), (String ((Ascii (false, false, true, false, true, true,
-      true, false)), (String ((Ascii (true, false, false, false, false, true,
-      true, false)), EmptyString)))))))))))))))))))))))))))))) ((String
-      ((Ascii (false, false, false, false, true, true, true, false)), (String
-      ((Ascii (true, false, false, false, false, true, true, false)), (String
-      ((Ascii (false, true, false, false, true, true, true, false)), (String
-      ((Ascii (true, true, false, false, true, true, true, false)), (String
-      ((Ascii (true, false, true, false, false, true, true, false)), (String
-      ((Ascii (true, true, false, false, true, false, true, false)), (String
-      ((Ascii (false, false, true, false, true, true, true, false)), (String
-      ((Ascii (false, true, false, false, true, true, true, false)), (String
-      ((Ascii (true, false, false, true, false, true, true, false)), (String
-      ((Ascii (false, true, true, true, false, true, true, false)), (String
-      ((Ascii (true, true, true, false, false, true, true, false)), (String
-      ((Ascii (false, true, true, false, false, false, true, false)), (String
-      ((Ascii (true, false, false, true, false, true, true, false)), (String
-      ((Ascii (true, false, true, false, false, true, true, false)), (String
-      ((Ascii (false, false, true, true, false, true, true, false)), (String
-      ((Ascii (false, false, true, false, false, true, true, false)),
-      EmptyString)))))))))))))))))))))))))))))))) :: [])) :: ((mkcut (S (S (S
-                                                                (S (S (S (S
-                                                                (S (S (S (S
-                                                                (S (S (S (S
-                                                                (S (S (S (S
-                                                                (S (S (S (S
-                                                                (S (S (S (S
-                                                                (S (S (S (S
-                                                                (S (S (S (S
-                                                                (S (S (S (S
-                                                                (S (S (S (S
-                                                                (S (S (S (S
-                                                                (S (S (S (S
-                                                                (S (S (S
-                                                                O))))))))))))))))))))))))))))))))))))))))))))))))))))))
-                                                                (S (S (S (S
-                                                                (S (S (S (S
-                                                                (S (S (S (S
-                                                                (S (S (S (S
-                                                                (S (S (S (S
-                                                                (S (S (S (S
-                                                                (S (S (S (S
-                                                                (S (S (S (S
-                                                                (S (S (S (S
-                                                                (S (S (S (S
-                                                                (S (S (S (S
-                                                                (S (S (S (S
-                                                                (S (S (S (S
-                                                                (S (S (S (S
-                                                                (S (S (S (S
-                                                                (S (S (S (S
-                                                                (S (S (S (S
-                                                                (S (S (S (S
-                                                                (S (S (S (S
-                                                                O))))))))))))))))))))))))))))))))))))))))))))))))))))))))))))))))))))))))))))
-                                                                (String
-                                                                ((Ascii
-                                                                (true, false,
-                                                                false, true,
-                                                                false, false,
-                                                                true,
-                                                                false)),
-                                                                (String
-                                                                ((Ascii
-                                                                (false, true,
-                                                                true, true,
-                                                                false, true,
-                                                                true,
-                                                                false)),
-                                                                (String
-                                                                ((Ascii
-                                                                (false,
-                                                                false, true,
-                                                                false, false,
-                                                                true, true,
-                                                                false)),
-                                                                (String
-                                                                ((Ascii
-                                                                (true, false,
-                                                                false, true,
-                                                                false, true,
-                                                                true,
-                                                                false)),
-                                                                (String
-                                                                ((Ascii
-                                                                (false, true,
-                                                                true, false,
-                                                                true, true,
-                                                                true,
-                                                                false)),
-                                                                (String
-                                                                ((Ascii
-                                                                (true, false,
-                                                                false, true,
-                                                                false, true,
-                                                                true,
-                                                                false)),
-                                                                (String
-                                                                ((Ascii
-                                                                (false,
-                                                                false, true,
-                                                                false, false,
-                                                                true, true,
-                                                                false)),
-                                                                (String
-                                                                ((Ascii
-                                                                (true, false,
-                                                                true, false,
-                                                                true, true,
-                                                                true,
-                                                                false)),
-                                                                (String
-                                                                ((Ascii
-                                                                (true, false,
-                                                                false, false,
-                                                                false, true,
-                                                                true,
-                                                                false)),
-                                                                (String
-                                                                ((Ascii
-                                                                (false,
-                                                                false, true,
-                                                                true, false,
-                                                                true, true,
-                                                                false)),
-                                                                (String
-                                                                ((Ascii
-                                                                (false, true,
-                                                                true, true,
-                                                                false, false,
-                                                                true,
-                                                                false)),
-                                                                (String
-                                                                ((Ascii
-                                                                (true, false,
-                                                                false, false,
-                                                                false, true,
-                                                                true,
-                                                                false)),
-                                                                (String
-                                                                ((Ascii
-                                                                (true, false,
-                                                                true, true,
-                                                                false, true,
-                                                                true,
-                                                                false)),
-                                                                (String
-                                                                ((Ascii
-                                                                (true, false,
-                                                                true, false,
-                                                                false, true,
-                                                                true,
-                                                                false)),
-                                                                EmptyString))))))))))))))))))))))))))))
-                                                                []) :: (
-    (mkcut (S (S (S (S (S (S (S (S (S (S (S (S (S (S (S (S (S (S (S (S (S (S
-      (S (S (S (S (S (S (S (S (S (S (S (S (S (S (S (S (S (S (S (S (S (S (S (S
-      (S (S (S (S (S (S (S (S (S (S (S (S (S (S (S (S (S (S (S (S (S (S (S (S
-      (S (S (S (S (S (S
-      O))))))))))))))))))))))))))))))))))))))))))))))))))))))))))))))))))))))))))))
-      (S (S (S (S (S (S (S (S (S (S (S (S (S (S (S (S (S (S (S (S (S (S (S (S
-      (S (S (S (S (S (S (S (S (S (S (S (S (S (S (S (S (S (S (S (S (S (S (S (S
-      (S (S (S (S (S (S (S (S (S (S (S (S (S (S (S (S (S (S (S (S (S (S (S (S
-      (S (S (S (S (S (S
-      O))))))))))))))))))))))))))))))))))))))))))))))))))))))))))))))))))))))))))))))
-      (String ((Ascii (false, false, true, false, false, false, true,
-      false)), (String ((Ascii (true, false, false, true, false, true, true,
-      false)), (String ((Ascii (true, true, false, false, true, true, true,
-      false)), (String ((Ascii (true, true, false, false, false, true, true,
-      false)), (String ((Ascii (false, true, false, false, true, true, true,
-      false)), (String ((Ascii (true, false, true, false, false, true, true,
-      false)), (String ((Ascii (false, false, true, false, true, true, true,
-      false)), (String ((Ascii (true, false, false, true, false, true, true,
-      false)), (String ((Ascii (true, true, true, true, false, true, true,
-      false)), (String ((Ascii (false, true, true, true, false, true, true,
-      false)), (String ((Ascii (true, false, false, false, false, true, true,
-      false)), (String ((Ascii (false, true, false, false, true, true, true,
-      false)), (String ((Ascii (true, false, false, true, true, true, true,
-      false)), (String ((Ascii (false, false, true, false, false, false,
-      true, false)), (String ((Ascii (true, false, false, false, false, true,
-      true, false)), (String ((Ascii (false, false, true, false, true, true,
-      true, false)), (String ((Ascii (true, false, false, false, false, true,
-      true, false)), EmptyString)))))))))))))))))))))))))))))))))) []) :: (
-    (mkcut (S (S (S (S (S (S (S (S (S (S (S (S (S (S (S (S (S (S (S (S (S (S
-      (S (S (S (S (S (S (S (S (S (S (S (S (S (S (S (S (S (S (S (S (S (S (S (S
-      (S (S (S (S (S (S (S (S (S (S (S (S (S (S (S (S (S (S (S (S (S (S (S (S
-      (S (S (S (S (S (S (S (S
-      O))))))))))))))))))))))))))))))))))))))))))))))))))))))))))))))))))))))))))))))
-      (S (S (S (S (S (S (S (S (S (S (S (S (S (S (S (S (S (S (S (S (S (S (S (S
-      (S (S (S (S (S (S (S (S (S (S (S (S (S (S (S (S (S (S (S (S (S (S (S (S
-      (S (S (S (S (S (S (S (S (S (S (S (S (S (S (S (S (S (S (S (S (S (S (S (S
-      (S (S (S (S (S (S (S
-      O)))))))))))))))))))))))))))))))))))))))))))))))))))))))))))))))))))))))))))))))
-      (String ((Ascii (true, false, false, false, false, false, true,
-      false)), (String ((Ascii (false, false, true, false, false, true, true,
-      false)), (String ((Ascii (false, false, true, false, false, true, true,
-      false)), (String ((Ascii (true, false, true, false, false, true, true,
-      false)), (String ((Ascii (false, true, true, true, false, true, true,
-      false)), (String ((Ascii (false, false, true, false, false, true, true,
-      false)), (String ((Ascii (true, false, false, false, false, true, true,
-      false)), (String ((Ascii (false, true, false, false, true, false, true,
-      false)), (String ((Ascii (true, false, true, false, false, true, true,
-      false)), (String ((Ascii (true, true, false, false, false, true, true,
-      false)), (String ((Ascii (true, true, true, true, false, true, true,
-      false)), (String ((Ascii (false, true, false, false, true, true, true,
-      false)), (String ((Ascii (false, false, true, false, false, true, true,
-      false)), (String ((Ascii (true, false, false, true, false, false, true,
-      false)), (String ((Ascii (false, true, true, true, false, true, true,
-      false)), (String ((Ascii (false, false, true, false, false, true, true,
-      false)), (String ((Ascii (true, false, false, true, false, true, true,
-      false)), (String ((Ascii (true, true, false, false, false, true, true,
-      false)), (String ((Ascii (true, false, false, false, false, true, true,
-      false)), (String ((Ascii (false, false, true, false, true, true, true,
-      false)), (String ((Ascii (true, true, true, true, false, true, true,
-      false)), (String ((Ascii (false, true, false, false, true, true, true,
-      false)), EmptyString))))))))))))))))))))))))))))))))))))))))))))
-      ((String ((Ascii (false, false, false, false, true, true, true,
-      false)), (String ((Ascii (true, false, false, false, false, true, true,
-      false)), (String ((Ascii (false, true, false, false, true, true, true,
-      false)), (String ((Ascii (true, true, false, false, true, true, true,
-      false)), (String ((Ascii (true, false, true, false, false, true, true,
-      false)), (String ((Ascii (false, true, true, true, false, false, true,
-      false)), (String ((Ascii (true, false, true, false, true, true, true,
-      false)), (String ((Ascii (true, false, true, true, false, true, true,
-      false)), (String ((Ascii (false, true, true, false, false, false, true,
-      false)), (String ((Ascii (true, false, false, true, false, true, true,
-      false)), (String ((Ascii (true, false, true, false, false, true, true,
-      false)), (String ((Ascii (false, false, true, true, false, true, true,
-      false)), (String ((Ascii (false, false, true, false, false, true, true,
-      false)), EmptyString)))))))))))))))))))))))))) :: [])) :: ((mkcut (S (S
-                                                                   (S (S (S
-                                                                   (S (S (S
-                                                                   (S (S (S
-                                                                   (S (S (S
-                                                                   (S (S (S
-                                                                   (S (S (S
-                                                                   (S (S (S
-                                                                   (S (S (S
-                                                                   (S (S (S
-                                                                   (S (S (S
-                                                                   (S (S (S
-                                                                   (S (S (S
-                                                                   (S (S (S
-                                                                   (S (S (S
-                                                                   (S (S (S
-                                                                   (S (S (S
-                                                                   (S (S (S
-                                                                   (S (S (S
-                                                                   (S (S (S
-                                                                   (S (S (S
-                                                                   (S (S (S
-                                                                   (S (S (S
-                                                                   (S (S (S
-                                                                   (S (S (S
-                                                                   (S (S (S
-                                                                   (S (S
-                                                                   O)))))))))))))))))))))))))))))))))))))))))))))))))))))))))))))))))))))))))))))))
-                                                                   (S (S (S
-                                                                   (S (S (S
-                                                                   (S (S (S
-                                                                   (S (S (S
-                                                                   (S (S (S
-                                                                   (S (S (S
-                                                                   (S (S (S
-                                                                   (S (S (S
-                                                                   (S (S (S
-                                                                   (S (S (S
-                                                                   (S (S (S
-                                                                   (S (S (S
-                                                                   (S (S (S
-                                                                   (S (S (S
-                                                                   (S (S (S
-                                                                   (S (S (S
-                                                                   (S (S (S
-                                                                   (S (S (S
-                                                                   (S (S (S
-                                                                   (S (S (S
-                                                                   (S (S (S
-                                                                   (S (S (S
-                                                                   (S (S (S
-                                                                   (S (S (S
-                                                                   (S (S (S
-                                                                   (S (S (S
-                                                                   (S (S (S
-                                                                   (S (S (S
-                                                                   (S (S (S
-                                                                   O)))))))))))))))))))))))))))))))))))))))))))))))))))))))))))))))))))))))))))))))))))))))
-                                                                   (String
-                                                                   ((Ascii
-                                                                   (true,
-                                                                   false,
-                                                                   false,
-                                                                   false,
-                                                                   false,
-                                                                   false,
-                                                                   true,
-                                                                   false)),
-                                                                   (String
-                                                                   ((Ascii
-                                                                   (true,
-                                                                   true,
-                                                                   false,
-                                                                   false,
-                                                                   false,
-                                                                   false,
-                                                                   true,
-                                                                   false)),
-                                                                   (String
-                                                                   ((Ascii
-                                                                   (false,
-                                                                   false,
-                                                                   false,
-                                                                   true,
-                                                                   false,
-                                                                   false,
-                                                                   true,
-                                                                   false)),
-                                                                   (String
-                                                                   ((Ascii
-                                                                   (true,
-                                                                   true,
-                                                                   true,
-                                                                   true,
-                                                                   false,
-                                                                   false,
-                                                                   true,
-                                                                   false)),
-                                                                   (String
-                                                                   ((Ascii
-                                                                   (false,
-                                                                   false,
-                                                                   false,
-                                                                   false,
-                                                                   true,
-                                                                   true,
-                                                                   true,
-                                                                   false)),
-                                                                   (String
-                                                                   ((Ascii
-                                                                   (true,
-                                                                   false,
-                                                                   true,
-                                                                   false,
-                                                                   false,
-                                                                   true,
-                                                                   true,
-                                                                   false)),
-                                                                   (String
-                                                                   ((Ascii
-                                                                   (false,
-                                                                   true,
-                                                                   false,
-                                                                   false,
-                                                                   true,
-                                                                   true,
-                                                                   true,
-                                                                   false)),
-                                                                   (String
-                                                                   ((Ascii
-                                                                   (true,
-                                                                   false,
-                                                                   false,
-                                                                   false,
-                                                                   false,
-                                                                   true,
-                                                                   true,
-                                                                   false)),
-                                                                   (String
-                                                                   ((Ascii
-                                                                   (false,
-                                                                   false,
-                                                                   true,
-                                                                   false,
-                                                                   true,
-                                                                   true,
-                                                                   true,
-                                                                   false)),
-                                                                   (String
-                                                                   ((Ascii
-                                                                   (true,
-                                                                   true,
-                                                                   true,
-                                                                   true,
-                                                                   false,
-                                                                   true,
-                                                                   true,
-                                                                   false)),
-                                                                   (String
-                                                                   ((Ascii
-                                                                   (false,
-                                                                   true,
-                                                                   false,
-                                                                   false,
-                                                                   true,
-                                                                   true,
-                                                                   true,
-                                                                   false)),
-                                                                   (String
-                                                                   ((Ascii
-                                                                   (false,
-                                                                   true,
-                                                                   false,
-                                                                   false,
-                                                                   true,
-                                                                   false,
-                                                                   true,
-                                                                   false)),
-                                                                   (String
-                                                                   ((Ascii
-                                                                   (true,
-                                                                   true,
-                                                                   true,
-                                                                   true,
-                                                                   false,
-                                                                   true,
-                                                                   true,
-                                                                   false)),
-                                                                   (String
-                                                                   ((Ascii
-                                                                   (true,
-                                                                   false,
-                                                                   true,
-                                                                   false,
-                                                                   true,
-                                                                   true,
-                                                                   true,
-                                                                   false)),
-                                                                   (String
-                                                                   ((Ascii
-                                                                   (false,
-                                                                   false,
-                                                                   true,
-                                                                   false,
-                                                                   true,
-                                                                   true,
-                                                                   true,
-                                                                   false)),
-                                                                   (String
-                                                                   ((Ascii
-                                                                   (true,
-                                                                   false,
-                                                                   false,
-                                                                   true,
-                                                                   false,
-                                                                   true,
-                                                                   true,
-                                                                   false)),
-                                                                   (String
-                                                                   ((Ascii
-                                                                   (false,
-                                                                   true,
-                                                                   true,
-                                                                   true,
-                                                                   false,
-                                                                   true,
-                                                                   true,
-                                                                   false)),
-                                                                   (String
-                                                                   ((Ascii
-                                                                   (true,
-                                                                   true,
-                                                                   true,
-                                                                   false,
-                                                                   false,
-                                                                   true,
-                                                                   true,
-                                                                   false)),
-                                                                   (String
-                                                                   ((Ascii
-                                                                   (false,
-                                                                   true,
-                                                                   true,
-                                                                   true,
-                                                                   false,
-                                                                   false,
-                                                                   true,
-                                                                   false)),
-                                                                   (String
-                                                                   ((Ascii
-                                                                   (true,
-                                                                   false,
-                                                                   true,
-                                                                   false,
-                                                                   true,
-                                                                   true,
-                                                                   true,
-                                                                   false)),
-                                                                   (String
-                                                                   ((Ascii
-                                                                   (true,
-                                                                   false,
-                                                                   true,
-                                                                   true,
-                                                                   false,
-                                                                   true,
-                                                                   true,
-                                                                   false)),
-                                                                   (String
-                                                                   ((Ascii
-                                                                   (false,
-                                                                   true,
-                                                                   false,
-                                                                   false,
-                                                                   false,
-                                                                   true,
-                                                                   true,
-                                                                   false)),
-                                                                   (String
-                                                                   ((Ascii
-                                                                   (true,
-                                                                   false,
-                                                                   true,
-                                                                   false,
-                                                                   false,
-                                                                   true,
-                                                                   true,
-                                                                   false)),
-                                                                   (String
-                                                                   ((Ascii
-                                                                   (false,
-                                                                   true,
-                                                                   false,
-                                                                   false,
-                                                                   true,
-                                                                   true,
-                                                                   true,
-                                                                   false)),
-                                                                   EmptyString))))))))))))))))))))))))))))))))))))))))))))))))
-                                                                   ((String
-                                                                   ((Ascii
-                                                                   (false,
-                                                                   false,
-                                                                   false,
-                                                                   false,
-                                                                   true,
-                                                                   true,
-                                                                   true,
-                                                                   false)),
-                                                                   (String
-                                                                   ((Ascii
-                                                                   (true,
-                                                                   false,
-                                                                   false,
-                                                                   false,
-                                                                   false,
-                                                                   true,
-                                                                   true,
-                                                                   false)),
-                                                                   (String
-                                                                   ((Ascii
-                                                                   (false,
-                                                                   true,
-                                                                   false,
-                                                                   false,
-                                                                   true,
-                                                                   true,
-                                                                   true,
-                                                                   false)),
-                                                                   (String
-                                                                   ((Ascii
-                                                                   (true,
-                                                                   true,
-                                                                   false,
-                                                                   false,
-                                                                   true,
-                                                                   true,
-                                                                   true,
-                                                                   false)),
-                                                                   (String
-                                                                   ((Ascii
-                                                                   (true,
-                                                                   false,
-                                                                   true,
-                                                                   false,
-                                                                   false,
-                                                                   true,
-                                                                   true,
-                                                                   false)),
-                                                                   (String
-                                                                   ((Ascii
-                                                                   (true,
-                                                                   true,
-                                                                   false,
-                                                                   false,
-                                                                   true,
-                                                                   false,
-                                                                   true,
-                                                                   false)),
-                                                                   (String
-                                                                   ((Ascii
-                                                                   (false,
-                                                                   false,
-                                                                   true,
-                                                                   false,
-                                                                   true,
-                                                                   true,
-                                                                   true,
-                                                                   false)),
-                                                                   (String
-                                                                   ((Ascii
-                                                                   (false,
-                                                                   true,
-                                                                   false,
-                                                                   false,
-                                                                   true,
-                                                                   true,
-                                                                   true,
-                                                                   false)),
-                                                                   (String
-                                                                   ((Ascii
-                                                                   (true,
-                                                                   false,
-                                                                   false,
-                                                                   true,
-                                                                   false,
-                                                                   true,
-                                                                   true,
-                                                                   false)),
-                                                                   (String
-                                                                   ((Ascii
-                                                                   (false,
-                                                                   true,
-                                                                   true,
-                                                                   true,
-                                                                   false,
-                                                                   true,
-                                                                   true,
-                                                                   false)),
-                                                                   (String
-                                                                   ((Ascii
-                                                                   (true,
-                                                                   true,
-                                                                   true,
-                                                                   false,
-                                                                   false,
-                                                                   true,
-                                                                   true,
-                                                                   false)),
-                                                                   (String
-                                                                   ((Ascii
-                                                                   (false,
-                                                                   true,
-                                                                   true,
-                                                                   false,
-                                                                   false,
-                                                                   false,
-                                                                   true,
-                                                                   false)),
-                                                                   (String
-                                                                   ((Ascii
-                                                                   (true,
-                                                                   false,
-                                                                   false,
-                                                                   true,
-                                                                   false,
-                                                                   true,
-                                                                   true,
-                                                                   false)),
-                                                                   (String
-                                                                   ((Ascii
-                                                                   (true,
-                                                                   false,
-                                                                   true,
-                                                                   false,
-                                                                   false,
-                                                                   true,
-                                                                   true,
-                                                                   false)),
-                                                                   (String
-                                                                   ((Ascii
-                                                                   (false,
-                                                                   false,
-                                                                   true,
-                                                                   true,
-                                                                   false,
-                                                                   true,
-                                                                   true,
-                                                                   false)),
-                                                                   (String
-                                                                   ((Ascii
-                                                                   (false,
-                                                                   false,
-                                                                   true,
-                                                                   false,
-                                                                   false,
-                                                                   true,
-                                                                   true,
-                                                                   false)),
-                                                                   EmptyString)))))))))))))))))))))))))))))))) :: [])) :: (
-    (mkcut (S (S (S (S (S (S (S (S (S (S (S (S (S (S (S (S (S (S (S (S (S (S
-      (S (S (S (S (S (S (S (S (S (S (S (S (S (S (S (S (S (S (S (S (S (S (S (S
-      (S (S (S (S (S (S (S (S (S (S (S (S (S (S (S (S (S (S (S (S (S (S (S (S
-      (S (S (S (S (S (S (S (S (S (S (S (S (S (S (S (S (S
-      O)))))))))))))))))))))))))))))))))))))))))))))))))))))))))))))))))))))))))))))))))))))))
-      (S (S (S (S (S (S (S (S (S (S (S (S (S (S (S (S (S (S (S (S (S (S (S (S
-      (S (S (S (S (S (S (S (S (S (S (S (S (S (S (S (S (S (S (S (S (S (S (S (S
-      (S (S (S (S (S (S (S (S (S (S (S (S (S (S (S (S (S (S (S (S (S (S (S (S
-      (S (S (S (S (S (S (S (S (S (S (S (S (S (S (S (S (S (S
-      O))))))))))))))))))))))))))))))))))))))))))))))))))))))))))))))))))))))))))))))))))))))))))
-      (String ((Ascii (false, true, false, true, false, false, true, false)),
-      (String ((Ascii (true, false, true, false, true, true, true, false)),
-      (String ((Ascii (false, false, true, true, false, true, true, false)),
-      (String ((Ascii (true, false, false, true, false, true, true, false)),
-      (String ((Ascii (true, false, false, false, false, true, true, false)),
-      (String ((Ascii (false, true, true, true, false, true, true, false)),
-      (String ((Ascii (false, false, true, false, false, false, true,
-      false)), (String ((Ascii (true, false, false, false, false, true, true,
-      false)), (String ((Ascii (true, false, false, true, true, true, true,
-      false)), EmptyString)))))))))))))))))) ((String ((Ascii (false, false,
-      false, false, true, true, true, false)), (String ((Ascii (true, false,
-      false, false, false, true, true, false)), (String ((Ascii (false, true,
-      false, false, true, true, true, false)), (String ((Ascii (true, true,
-      false, false, true, true, true, false)), (String ((Ascii (true, false,
-      true, false, false, true, true, false)), (String ((Ascii (false, true,
-      true, true, false, false, true, false)), (String ((Ascii (true, false,
-      true, false, true, true, true, false)), (String ((Ascii (true, false,
-      true, true, false, true, true, false)), (String ((Ascii (false, true,
-      true, false, false, false, true, false)), (String ((Ascii (true, false,
-      false, true, false, true, true, false)), (String ((Ascii (true, false,
-      true, false, false, true, true, false)), (String ((Ascii (false, false,
-      true, true, false, true, true, false)), (String ((Ascii (false, false,
-      true, false, false, true, true, false)),
-      EmptyString)))))))))))))))))))))))))) :: [])) :: ((mkcut (S (S (S (S (S
-                                                          (S (S (S (S (S (S
-                                                          (S (S (S (S (S (S
-                                                          (S (S (S (S (S (S
-                                                          (S (S (S (S (S (S
-                                                          (S (S (S (S (S (S
-                                                          (S (S (S (S (S (S
-                                                          (S (S (S (S (S (S
-                                                          (S (S (S (S (S (S
-                                                          (S (S (S (S (S (S
-                                                          (S (S (S (S (S (S
-                                                          (S (S (S (S (S (S
-                                                          (S (S (S (S (S (S
-                                                          (S (S (S (S (S (S
-                                                          (S (S (S (S (S (S
-                                                          (S
-                                                          O))))))))))))))))))))))))))))))))))))))))))))))))))))))))))))))))))))))))))))))))))))))))))
-                                                          (S (S (S (S (S (S
-                                                          (S (S (S (S (S (S
-                                                          (S (S (S (S (S (S
-                                                          (S (S (S (S (S (S
-                                                          (S (S (S (S (S (S
-                                                          (S (S (S (S (S (S
-                                                          (S (S (S (S (S (S
-                                                          (S (S (S (S (S (S
-                                                          (S (S (S (S (S (S
-                                                          (S (S (S (S (S (S
-                                                          (S (S (S (S (S (S
-                                                          (S (S (S (S (S (S
-                                                          (S (S (S (S (S (S
-                                                          (S (S (S (S (S (S
-                                                          (S (S (S (S (S (S
-                                                          (S (S (S (S
-                                                          O))))))))))))))))))))))))))))))))))))))))))))))))))))))))))))))))))))))))))))))))))))))))))))))
-                                                          (String ((Ascii
-                                                          (true, true, false,
-                                                          false, true, false,
-                                                          true, false)),
-                                                          (String ((Ascii
-                                                          (true, false, true,
-                                                          false, false, true,
-                                                          true, false)),
-                                                          (String ((Ascii
-                                                          (true, false,
-                                                          false, false, true,
-                                                          true, true,
-                                                          false)), (String
-                                                          ((Ascii (true,
-                                                          false, true, false,
-                                                          true, true, true,
-                                                          false)), (String
-                                                          ((Ascii (true,
-                                                          false, true, false,
-                                                          false, true, true,
-                                                          false)), (String
-                                                          ((Ascii (false,
-                                                          true, true, true,
-                                                          false, true, true,
-                                                          false)), (String
-                                                          ((Ascii (true,
-                                                          true, false, false,
-                                                          false, true, true,
-                                                          false)), (String
-                                                          ((Ascii (true,
-                                                          false, true, false,
-                                                          false, true, true,
-                                                          false)), (String
-                                                          ((Ascii (false,
-                                                          true, true, true,
-                                                          false, false, true,
-                                                          false)), (String
-                                                          ((Ascii (true,
-                                                          false, true, false,
-                                                          true, true, true,
-                                                          false)), (String
-                                                          ((Ascii (true,
-                                                          false, true, true,
-                                                          false, true, true,
-                                                          false)), (String
-                                                          ((Ascii (false,
-                                                          true, false, false,
-                                                          false, true, true,
-                                                          false)), (String
-                                                          ((Ascii (true,
-                                                          false, true, false,
-                                                          false, true, true,
-                                                          false)), (String
-                                                          ((Ascii (false,
-                                                          true, false, false,
-                                                          true, true, true,
-                                                          false)),
-                                                          EmptyString))))))))))))))))))))))))))))
-                                                          ((String ((Ascii
-                                                          (false, false,
-                                                          false, false, true,
-                                                          true, true,
-                                                          false)), (String
-                                                          ((Ascii (true,
-                                                          false, false,
-                                                          false, false, true,
-                                                          true, false)),
-                                                          (String ((Ascii
-                                                          (false, true,
-                                                          false, false, true,
-                                                          true, true,
-                                                          false)), (String
-                                                          ((Ascii (true,
-                                                          true, false, false,
-                                                          true, true, true,
-                                                          false)), (String
-                                                          ((Ascii (true,
-                                                          false, true, false,
-                                                          false, true, true,
-                                                          false)), (String
-                                                          ((Ascii (false,
-                                                          true, true, true,
-                                                          false, false, true,
-                                                          false)), (String
-                                                          ((Ascii (true,
-                                                          false, true, false,
-                                                          true, true, true,
-                                                          false)), (String
-                                                          ((Ascii (true,
-                                                          false, true, true,
-                                                          false, true, true,
-                                                          false)), (String
-                                                          ((Ascii (false,
-                                                          true, true, false,
-                                                          false, false, true,
-                                                          false)), (String
-                                                          ((Ascii (true,
-                                                          false, false, true,
-                                                          false, true, true,
-                                                          false)), (String
-                                                          ((Ascii (true,
-                                                          false, true, false,
-                                                          false, true, true,
-                                                          false)), (String
-                                                          ((Ascii (false,
-                                                          false, true, true,
-                                                          false, true, true,
-                                                          false)), (String
-                                                          ((Ascii (false,
-                                                          false, true, false,
-                                                          false, true, true,
-                                                          false)),
-                                                          EmptyString)))))))))))))))))))))))))) :: [])) :: [])))))))))))))) }
+(** val on_err : handler -> werr option -> act **)
 
-(** val l_ADVFileControl : layout **)
+let on_err h = function
+| Some x ->
+  (match h with
+   | Propagate -> Ret (Some x)
+   | Ignore -> Cont
+   | _ -> Ret None)
+| None -> Cont
 
-let l_ADVFileControl =
-  { l_name = (String ((Ascii (true, false, false, false, false, false, true,
-    false)), (String ((Ascii (false, false, true, false, false, false, true,
-    false)), (String ((Ascii (false, true, true, false, true, false, true,
-    false)), (String ((Ascii (false, true, true, false, false, false, true,
-    false)), (String ((Ascii (true, false, false, true, false, true, true,
-    false)), (String ((Ascii (false, false, true, true, false, true, true,
-    false)), (String ((Ascii (true, false, true, false, false, true, true,
-    false)), (String ((Ascii (true, true, false, false, false, false, true,
-    false)), (String ((Ascii (true, true, true, true, false, true, true,
-    false)), (String ((Ascii (false, true, true, true, false, true, true,
-    false)), (String ((Ascii (false, false, true, false, true, true, true,
-    false)), (String ((Ascii (false, true, false, false, true, true, true,
-    false)), (String ((Ascii (true, true, true, true, false, true, true,
-    false)), (String ((Ascii (false, false, true, true, false, true, true,
-    false)), EmptyString)))))))))))))))))))))))))))); l_ix = IRune; l_segs =
-    ((SLit ((Npos (XI (XO (XO (XI (XI XH)))))) :: [])) :: ((SNum ((String
-    ((Ascii (false, true, false, false, false, false, true, false)), (String
-    ((Ascii (true, false, false, false, false, true, true, false)), (String
-    ((Ascii (false, false, true, false, true, true, true, false)), (String
-    ((Ascii (true, true, false, false, false, true, true, false)), (String
-    ((Ascii (false, false, false, true, false, true, true, false)), (String
-    ((Ascii (true, true, false, false, false, false, true, false)), (String
-    ((Ascii (true, true, true, true, false, true, true, false)), (String
-    ((Ascii (true, false, true, false, true, true, true, false)), (String
-    ((Ascii (false, true, true, true, false, true, true, false)), (String
-    ((Ascii (false, false, true, false, true, true, true, false)),
-    EmptyString)))))))))))))))))))), (S (S (S (S (S (S O)))))))) :: ((SNum
-    ((String ((Ascii (false, true, false, false, false, false, true, false)),
-    (String ((Ascii (false, false, true, true, false, true, true, false)),
-    (String ((Ascii (true, true, true, true, false, true, true, false)),
-    (String ((Ascii (true, true, false, false, false, true, true, false)),
-    (String ((Ascii (true, true, false, true, false, true, true, false)),
-    (String ((Ascii (true, true, false, false, false, false, true, false)),
-    (String ((Ascii (true, true, true, true, false, true, true, false)),
-    (String ((Ascii (true, false, true, false, true, true, true, false)),
-    (String ((Ascii (false, true, true, true, false, true, true, false)),
-    (String ((Ascii (false, false, true, false, true, true, true, false)),
-    EmptyString)))))))))))))))))))), (S (S (S (S (S (S O)))))))) :: ((SNum
-    ((String ((Ascii (true, false, true, false, false, false, true, false)),
-    (String ((Ascii (false, true, true, true, false, true, true, false)),
-    (String ((Ascii (false, false, true, false, true, true, true, false)),
-    (String ((Ascii (false, true, false, false, true, true, true, false)),
-    (String ((Ascii (true, false, false, true, true, true, true, false)),
-    (String ((Ascii (true, false, false, false, false, false, true, false)),
-    (String ((Ascii (false, false, true, false, false, true, true, false)),
-    (String ((Ascii (false, false, true, false, false, true, true, false)),
-    (String ((Ascii (true, false, true, false, false, true, true, false)),
-    (String ((Ascii (false, true, true, true, false, true, true, false)),
-    (String ((Ascii (false, false, true, false, false, true, true, false)),
-    (String ((Ascii (true, false, false, false, false, true, true, false)),
-    (String ((Ascii (true, true, false, false, false, false, true, false)),
-    (String ((Ascii (true, true, true, true, false, true, true, false)),
-    (String ((Ascii (true, false, true, false, true, true, true, false)),
-    (String ((Ascii (false, true, true, true, false, true, true, false)),
-    (String ((Ascii (false, false, true, false, true, true, true, false)),
-    EmptyString)))))))))))))))))))))))))))))))))), (S (S (S (S (S (S (S (S
-    O)))))))))) :: ((SNum ((String ((Ascii (true, false, true, false, false,
-    false, true, false)), (String ((Ascii (false, true, true, true, false,
-    true, true, false)), (String ((Ascii (false, false, true, false, true,
-    true, true, false)), (String ((Ascii (false, true, false, false, true,
-    true, true, false)), (String ((Ascii (true, false, false, true, true,
-    true, true, false)), (String ((Ascii (false, false, false, true, false,
-    false, true, false)), (String ((Ascii (true, false, false, false, false,
-    true, true, false)), (String ((Ascii (true, true, false, false, true,
-    true, true, false)), (String ((Ascii (false, false, false, true, false,
-    true, true, false)), EmptyString)))))))))))))))))), (S (S (S (S (S (S (S
-    (S (S (S O)))))))))))) :: ((SNum ((String ((Ascii (false, false, true,
-    false, true, false, true, false)), (String ((Ascii (true, true, true,
-    true, false, true, true, false)), (String ((Ascii (false, false, true,
-    false, true, true, true, false)), (String ((Ascii (true, false, false,
-    false, false, true, true, false)), (String ((Ascii (false, false, true,
-    true, false, true, true, false)), (String ((Ascii (false, false, true,
-    false, false, false, true, false)), (String ((Ascii (true, false, true,
-    false, false, true, true, false)), (String ((Ascii (false, true, false,
-    false, false, true, true, false)), (String ((Ascii (true, false, false,
-    true, false, true, true, false)), (String ((Ascii (false, false, true,
-    false, true, true, true, false)), (String ((Ascii (true, false, true,
-    false, false, false, true, false)), (String ((Ascii (false, true, true,
-    true, false, true, true, false)), (String ((Ascii (false, false, true,
-    false, true, true, true, false)), (String ((Ascii (false, true, false,
-    false, true, true, true, false)), (String ((Ascii (true, false, false,
-    true, true, true, true, false)), (String ((Ascii (false, false, true,
-    false, false, false, true, false)), (String ((Ascii (true, true, true,
-    true, false, true, true, false)), (String ((Ascii (false, false, true,
-    true, false, true, true, false)), (String ((Ascii (false, false, true,
-    true, false, true, true, false)), (String ((Ascii (true, false, false,
-    false, false, true, true, false)), (String ((Ascii (false, true, false,
-    false, true, true, true, false)), (String ((Ascii (true, false, false,
-    false, false, false, true, false)), (String ((Ascii (true, false, true,
-    true, false, true, true, false)), (String ((Ascii (true, true, true,
-    true, false, true, true, false)), (String ((Ascii (true, false, true,
-    false, true, true, true, false)), (String ((Ascii (false, true, true,
-    true, false, true, true, false)), (String ((Ascii (false, false, true,
-    false, true, true, true, false)), (String ((Ascii (true, false, false,
-    true, false, false, true, false)), (String ((Ascii (false, true, true,
-    true, false, true, true, false)), (String ((Ascii (false, true, true,
-    false, false, false, true, false)), (String ((Ascii (true, false, false,
-    true, false, true, true, false)), (String ((Ascii (false, false, true,
-    true, false, true, true, false)), (String ((Ascii (true, false, true,
-    false, false, true, true, false)),
-    EmptyString)))))))))))))))))))))))))))))))))))))))))))))))))))))))))))))))))),
-    (S (S (S (S (S (S (S (S (S (S (S (S (S (S (S (S (S (S (S (S
-    O)))))))))))))))))))))) :: ((SNum ((String ((Ascii (false, false, true,
-    false, true, false, true, false)), (String ((Ascii (true, true, true,
-    true, false, true, true, false)), (String ((Ascii (false, false, true,
-    false, true, true, true, false)), (String ((Ascii (true, false, false,
-    false, false, true, true, false)), (String ((Ascii (false, false, true,
-    true, false, true, true, false)), (String ((Ascii (true, true, false,
-    false, false, false, true, false)), (String ((Ascii (false, true, false,
-    false, true, true, true, false)), (String ((Ascii (true, false, true,
-    false, false, true, true, false)), (String ((Ascii (false, false, true,
-    false, false, true, true, false)), (String ((Ascii (true, false, false,
-    true, false, true, true, false)), (String ((Ascii (false, false, true,
-    false, true, true, true, false)), (String ((Ascii (true, false, true,
-    false, false, false, true, false)), (String ((Ascii (false, true, true,
-    true, false, true, true, false)), (String ((Ascii (false, false, true,
-    false, true, true, true, false)), (String ((Ascii (false, true, false,
-    false, true, true, true, false)), (String ((Ascii (true, false, false,
-    true, true, true, true, false)), (String ((Ascii (false, false, true,
-    false, false, false, true, false)), (String ((Ascii (true, true, true,
-    true, false, true, true, false)), (String ((Ascii (false, false, true,
-    true, false, true, true, false)), (String ((Ascii (false, false, true,
-    true, false, true, true, false)), (String ((Ascii (true, false, false,
-    false, false, true, true, false)), (String ((Ascii (false, true, false,
-    false, true, true, true, false)), (String ((Ascii (true, false, false,
-    false, false, false, true, false)), (String ((Ascii (true, false, true,
-    true, false, true, true, false)), (String ((Ascii (true, true, true,
-    true, false, true, true, false)), (String ((Ascii (true, false, true,
-    false, true, true, true, false)), (String ((Ascii (false, true, true,
-    true, false, true, true, false)), (String ((Ascii (false, false, true,
-    false, true, true, true, false)), (String ((Ascii (true, false, false,
-    true, false, false, true, false)), (String ((Ascii (false, true, true,
-    true, false, true, true, false)), (String ((Ascii (false, true, true,
-    false, false, false, true, false)), (String ((Ascii (true, false, false,
-    true, false, true, true, false)), (String ((Ascii (false, false, true,
-    true, false, true, true, false)), (String ((Ascii (true, false, true,
-    false, false, true, true, false)),
-    EmptyString)))))))))))))))))))))))))))))))))))))))))))))))))))))))))))))))))))),
-    (S (S (S (S (S (S (S (S (S (S (S (S (S (S (S (S (S (S (S (S
-    O)))))))))))))))))))))) :: ((SLit ((Npos (XO (XO (XO (XO (XO
-    XH)))))) :: ((Npos (XO (XO (XO (XO (XO XH)))))) :: ((Npos (XO (XO (XO (XO
-    (XO XH)))))) :: ((Npos (XO (XO (XO (XO (XO XH)))))) :: ((Npos (XO (XO (XO
-    (XO (XO XH)))))) :: ((Npos (XO (XO (XO (XO (XO XH)))))) :: ((Npos (XO (XO
-    (XO (XO (XO XH)))))) :: ((Npos (XO (XO (XO (XO (XO XH)))))) :: ((Npos (XO
-    (XO (XO (XO (XO XH)))))) :: ((Npos (XO (XO (XO (XO (XO XH)))))) :: ((Npos
-    (XO (XO (XO (XO (XO XH)))))) :: ((Npos (XO (XO (XO (XO (XO
-    XH)))))) :: ((Npos (XO (XO (XO (XO (XO XH)))))) :: ((Npos (XO (XO (XO (XO
-    (XO XH)))))) :: ((Npos (XO (XO (XO (XO (XO XH)))))) :: ((Npos (XO (XO (XO
-    (XO (XO XH)))))) :: ((Npos (XO (XO (XO (XO (XO XH)))))) :: ((Npos (XO (XO
-    (XO (XO (XO XH)))))) :: ((Npos (XO (XO (XO (XO (XO XH)))))) :: ((Npos (XO
-    (XO (XO (XO (XO XH)))))) :: ((Npos (XO (XO (XO (XO (XO XH)))))) :: ((Npos
-    (XO (XO (XO (XO (XO XH)))))) :: ((Npos (XO (XO (XO (XO (XO
-    XH)))))) :: [])))))))))))))))))))))))) :: [])))))))); l_cuts =
-    ((mkcut (S O) (S (S (S (S (S (S (S O))))))) (String ((Ascii (false, true,
-       false, false, false, false, true, false)), (String ((Ascii (true,
-       false, false, false, false, true, true, false)), (String ((Ascii
-       (false, false, true, false, true, true, true, false)), (String ((Ascii
-       (true, true, false, false, false, true, true, false)), (String ((Ascii
-       (false, false, false, true, false, true, true, false)), (String
-       ((Ascii (true, true, false, false, false, false, true, false)),
-       (String ((Ascii (true, true, true, true, false, true, true, false)),
-       (String ((Ascii (true, false, true, false, true, true, true, false)),
-       (String ((Ascii (false, true, true, true, false, true, true, false)),
-       (String ((Ascii (false, false, true, false, true, true, true, false)),
-       EmptyString)))))))))))))))))))) ((String ((Ascii (false, false, false,
-       false, true, true, true, false)), (String ((Ascii (true, false, false,
-       false, false, true, true, false)), (String ((Ascii (false, true,
-       false, false, true, true, true, false)), (String ((Ascii (true, true,
-       false, false, true, true, true, false)), (String ((Ascii (true, false,
-       true, false, false, true, true, false)), (String ((Ascii (false, true,
-       true, true, false, false, true, false)), (String ((Ascii (true, false,
-       true, false, true, true, true, false)), (String ((Ascii (true, false,
-       true, true, false, true, true, false)), (String ((Ascii (false, true,
-       true, false, false, false, true, false)), (String ((Ascii (true,
-       false, false, true, false, true, true, false)), (String ((Ascii (true,
-       false, true, false, false, true, true, false)), (String ((Ascii
-       (false, false, true, true, false, true, true, false)), (String ((Ascii
-       (false, false, true, false, false, true, true, false)),
-       EmptyString)))))))))))))))))))))))))) :: [])) :: ((mkcut (S (S (S (S
-                                                           (S (S (S O)))))))
-                                                           (S (S (S (S (S (S
-                                                           (S (S (S (S (S (S
-                                                           (S O)))))))))))))
-                                                           (String ((Ascii
-                                                           (false, true,
-                                                           false, false,
-                                                           false, false,
-                                                           true, false)),
-                                                           (String ((Ascii
-                                                           (false, false,
-                                                           true, true, false,
-                                                           true, true,
-                                                           false)), (String
-                                                           ((Ascii (true,
-                                                           true, true, true,
-                                                           false, true, true,
-                                                           false)), (String
-                                                           ((Ascii (true,
-                                                           true, false,
-                                                           false, false,
-                                                           true, true,
-                                                           false)), (String
-                                                           ((Ascii (true,
-                                                           true, false, true,
-                                                           false, true, true,
-                                                           false)), (String
-                                                           ((Ascii (true,
-                                                           true, false,
-                                                           false, false,
-                                                           false, true,
-                                                           false)), (String
-                                                           ((Ascii (true,
-                                                           true, true, true,
-                                                           false, true, true,
-                                                           false)), (String
-                                                           ((Ascii (true,
-                                                           false, true,
-                                                           false, true, true,
-                                                           true, false)),
-                                                           (String ((Ascii
-                                                           (false, true,
-                                                           true, true, false,
-                                                           true, true,
-                                                           false)), (String
-                                                           ((Ascii (false,
-                                                           false, true,
-                                                           false, true, true,
-                                                           true, false)),
-                                                           EmptyString))))))))))))))))))))
-                                                           ((String ((Ascii
-                                                           (false, false,
-                                                           false, false,
-                                                           true, true, true,
-                                                           false)), (String
-                                                           ((Ascii (true,
-                                                           false, false,
-                                                           false, false,
-                                                           true, true,
-                                                           false)), (String
-                                                           ((Ascii (false,
-                                                           true, false,
-                                                           false, true, true,
-                                                           true, false)),
-                                                           (String ((Ascii
-                                                           (true, true,
-                                                           false, false,
-                                                           true, true, true,
-                                                           false)), (String
-                                                           ((Ascii (true,
-                                                           false, true,
-                                                           false, false,
-                                                           true, true,
-                                                           false)), (String
-                                                           ((Ascii (false,
-                                                           true, true, true,
-                                                           false, false,
-                                                           true, false)),
-                                                           (String ((Ascii
-                                                           (true, false,
-                                                           true, false, true,
-                                                           true, true,
-                                                           false)), (String
-                                                           ((Ascii (true,
-                                                           false, true, true,
-                                                           false, true, true,
-                                                           false)), (String
-                                                           ((Ascii (false,
-                                                           true, true, false,
-                                                           false, false,
-                                                           true, false)),
-                                                           (String ((Ascii
-                                                           (true, false,
-                                                           false, true,
-                                                           false, true, true,
-                                                           false)), (String
-                                                           ((Ascii (true,
-                                                           false, true,
-                                                           false, false,
-                                                           true, true,
-                                                           false)), (String
-                                                           ((Ascii (false,
-                                                           false, true, true,
-                                                           false, true, true,
-                                                           false)), (String
-                                                           ((Ascii (false,
-                                                           false, true,
-                                                           false, false,
-                                                           true, true,
-                                                           false)),
-                                                           EmptyString)))))))))))))))))))))))))) :: [])) :: (
-    (mkcut (S (S (S (S (S (S (S (S (S (S (S (S (S O))))))))))))) (S (S (S (S
-      (S (S (S (S (S (S (S (S (S (S (S (S (S (S (S (S (S
-      O))))))))))))))))))))) (String ((Ascii (true, false, true, false,
-      false, false, true, false)), (String ((Ascii (false, true, true, true,
-      false, true, true, false)), (String ((Ascii (false, false, true, false,
-      true, true, true, false)), (String ((Ascii (false, true, false, false,
-      true, true, true, false)), (String ((Ascii (true, false, false, true,
-      true, true, true, false)), (String ((Ascii (true, false, false, false,
-      false, false, true, false)), (String ((Ascii (false, false, true,
-      false, false, true, true, false)), (String ((Ascii (false, false, true,
-      false, false, true, true, false)), (String ((Ascii (true, false, true,
-      false, false, true, true, false)), (String ((Ascii (false, true, true,
-      true, false, true, true, false)), (String ((Ascii (false, false, true,
-      false, false, true, true, false)), (String ((Ascii (true, false, false,
-      false, false, true, true, false)), (String ((Ascii (true, true, false,
-      false, false, false, true, false)), (String ((Ascii (true, true, true,
-      true, false, true, true, false)), (String ((Ascii (true, false, true,
-      false, true, true, true, false)), (String ((Ascii (false, true, true,
-      true, false, true, true, false)), (String ((Ascii (false, false, true,
-      false, true, true, true, false)),
-      EmptyString)))))))))))))))))))))))))))))))))) ((String ((Ascii (false,
-      false, false, false, true, true, true, false)), (String ((Ascii (true,
-      false, false, false, false, true, true, false)), (String ((Ascii
-      (false, true, false, false, true, true, true, false)), (String ((Ascii
-      (true, true, false, false, true, true, true, false)), (String ((Ascii
-      (true, false, true, false, false, true, true, false)), (String ((Ascii
-      (false, true, true, true, false, false, true, false)), (String ((Ascii
-      (true, false, true, false, true, true, true, false)), (String ((Ascii
-      (true, false, true, true, false, true, true, false)), (String ((Ascii
-      (false, true, true, false, false, false, true, false)), (String ((Ascii
-      (true, false, false, true, false, true, true, false)), (String ((Ascii
-      (true, false, true, false, false, true, true, false)), (String ((Ascii
-      (false, false, true, true, false, true, true, false)), (String ((Ascii
-      (false, false, true, false, false, true, true, false)),
-      EmptyString)))))))))))))))))))))))))) :: [])) :: ((mkcut (S (S (S (S (S
-                                                          (S (S (S (S (S (S
-                                                          (S (S (S (S (S (S
-                                                          (S (S (S (S
-                                                          O)))))))))))))))))))))
-                                                          (S (S (S (S (S (S
-                                                          (S (S (S (S (S (S
-                                                          (S (S (S (S (S (S
-                                                          (S (S (S (S (S (S
-                                                          (S (S (S (S (S (S
-                                                          (S
-                                                          O)))))))))))))))))))))))))))))))
-                                                          (String ((Ascii
-                                                          (true, false, true,
-                                                          false, false,
-                                                          false, true,
-                                                          false)), (String
-                                                          ((Ascii (false,
-                                                          true, true, true,
-                                                          false, true, true,
-                                                          false)), (String
-                                                          ((Ascii (false,
-                                                          false, true, false,
-                                                          true, true, true,
-                                                          false)), (String
-                                                          ((Ascii (false,
-                                                          true, false, false,
-                                                          true, true, true,
-                                                          false)), (String
-                                                          ((Ascii (true,
-                                                          false, false, true,
-                                                          true, true, true,
-                                                          false)), (String
-                                                          ((Ascii (false,
-                                                          false, false, true,
-                                                          false, false, true,
-                                                          false)), (String
-                                                          ((Ascii (true,
-                                                          false, false,
-                                                          false, false, true,
-                                                          true, false)),
-                                                          (String ((Ascii
-                                                          (true, true, false,
-                                                          false, true, true,
-                                                          true, false)),
-                                                          (String ((Ascii
-                                                          (false, false,
-                                                          false, true, false,
-                                                          true, true,
-                                                          false)),
-                                                          EmptyString))))))))))))))))))
-                                                          ((String ((Ascii
-                                                          (false, false,
-                                                          false, false, true,
-                                                          true, true,
-                                                          false)), (String
-                                                          ((Ascii (true,
-                                                          false, false,
-                                                          false, false, true,
-                                                          true, false)),
-                                                          (String ((Ascii
-                                                          (false, true,
-                                                          false, false, true,
-                                                          true, true,
-                                                          false)), (String
-                                                          ((Ascii (true,
-                                                          true, false, false,
-                                                          true, true, true,
-                                                          false)), (String
-                                                          ((Ascii (true,
-                                                          false, true, false,
-                                                          false, true, true,
-                                                          false)), (String
-                                                          ((Ascii (false,
-                                                          true, true, true,
-                                                          false, false, true,
-                                                          false)), (String
-                                                          ((Ascii (true,
-                                                          false, true, false,
-                                                          true, true, true,
-                                                          false)), (String
-                                                          ((Ascii (true,
-                                                          false, true, true,
-                                                          false, true, true,
-                                                          false)), (String
-                                                          ((Ascii (false,
-                                                          true, true, false,
-                                                          false, false, true,
-                                                          false)), (String
-                                                          ((Ascii (true,
-                                                          false, false, true,
-                                                          false, true, true,
-                                                          false)), (String
-                                                          ((Ascii (true,
-                                                          false, true, false,
-                                                          false, true, true,
-                                                          false)), (String
-                                                          ((Ascii (false,
-                                                          false, true, true,
-                                                          false, true, true,
-                                                          false)), (String
-                                                          ((Ascii (false,
-                                                          false, true, false,
-                                                          false, true, true,
-                                                          false)),
-                                                          EmptyString)))))))))))))))))))))))))) :: [])) :: (
-    (mkcut (S (S (S (S (S (S (S (S (S (S (S (S (S (S (S (S (S (S (S (S (S (S
-      (S (S (S (S (S (S (S (S (S O))))))))))))))))))))))))))))))) (S (S (S (S
-      (S (S (S (S (S (S (S (S (S (S (S (S (S (S (S (S (S (S (S (S (S (S (S (S
-      (S (S (S (S (S (S (S (S (S (S (S (S (S (S (S (S (S (S (S (S (S (S (S
-      O))))))))))))))))))))))))))))))))))))))))))))))))))) (String ((Ascii
-      (false, false, true, false, true, false, true, false)), (String ((Ascii
-      (true, true, true, true, false, true, true, false)), (String ((Ascii
-      (false, false, true, false, true, true, true, false)), (String ((Ascii
-      (true, false, false, false, false, true, true, false)), (String ((Ascii
-      (false, false, true, true, false, true, true, false)), (String ((Ascii
-      (false, false, true, false, false, false, true, false)), (String
-      ((Ascii (true, false, true, false, false, true, true, false)), (String
-      ((Ascii (false, true, false, false, false, true, true, false)), (String
-      ((Ascii (true, false, false, true, false, true, true, false)), (String
-      ((Ascii (false, false, true, false, true, true, true, false)), (String
-      ((Ascii (true, false, true, false, false, false, true, false)), (String
-      ((Ascii (false, true, true, true, false, true, true, false)), (String
-      ((Ascii (false, false, true, false, true, true, true, false)), (String
-      ((Ascii (false, true, false, false, true, true, true, false)), (String
-      ((Ascii (true, false, false, true, true, true, true, false)), (String
-      ((Ascii (false, false, true, false, false, false, true, false)),
-      (String ((Ascii (true, true, true, true, false, true, true, false)),
-      (String ((Ascii (false, false, true, true, false, true, true, false)),
-      (String ((Ascii (false, false, true, true, false, true, true, false)),
-      (String ((Ascii (true, false, false, false, false, true, true, false)),
-      (String ((Ascii (false, true, false, false, true, true, true, false)),
-      (String ((Ascii (true, false, false, false, false, false, true,
-      false)), (String ((Ascii (true, false, true, true, false, true, true,
-      false)), (String ((Ascii (true, true, true, true, false, true, true,
-      false)), (String ((Ascii (true, false, true, false, true, true, true,
-      false)), (String ((Ascii (false, true, true, true, false, true, true,
-      false)), (String ((Ascii (false, false, true, false, true, true, true,
-      false)), (String ((Ascii (true, false, false, true, false, false, true,
-      false)), (String ((Ascii (false, true, true, true, false, true, true,
-      false)), (String ((Ascii (false, true, true, false, false, false, true,
-      false)), (String ((Ascii (true, false, false, true, false, true, true,
-      false)), (String ((Ascii (false, false, true, true, false, true, true,
-      false)), (String ((Ascii (true, false, true, false, false, true, true,
-      false)),
-      EmptyString))))))))))))))))))))))))))))))))))))))))))))))))))))))))))))))))))
-      ((String ((Ascii (false, false, false, false, true, true, true,
-      false)), (String ((Ascii (true, false, false, false, false, true, true,
-      false)), (String ((Ascii (false, true, false, false, true, true, true,
-      false)), (String ((Ascii (true, true, false, false, true, true, true,
-      false)), (String ((Ascii (true, false, true, false, false, true, true,
-      false)), (String ((Ascii (false, true, true, true, false, false, true,
-      false)), (String ((Ascii (true, false, true, false, true, true, true,
-      false)), (String ((Ascii (true, false, true, true, false, true, true,
-      false)), (String ((Ascii (false, true, true, false, false, false, true,
-      false)), (String ((Ascii (true, false, false, true, false, true, true,
-      false)), (String ((Ascii (true, false, true, false, false, true, true,
-      false)), (String ((Ascii (false, false, true, true, false, true, true,
-      false)), (String ((Ascii (false, false, true, false, false, true, true,
-      false)), EmptyString)))))))))))))))))))))))))) :: [])) :: ((mkcut (S (S
-                                                                   (S (S (S
-                                                                   (S (S (S
-                                                                   (S (S (S
-                                                                   (S (S (S
-                                                                   (S (S (S
-                                                                   (S (S (S
-                                                                   (S (S (S
-                                                                   (S (S (S
-                                                                   (S (S (S
-                                                                   (S (S (S
-                                                                   (S (S (S
-                                                                   (S (S (S
-                                                                   (S (S (S
-                                                                   (S (S (S
-                                                                   (S (S (S
-                                                                   (S (S (S
-                                                                   (S
-                                                                   O)))))))))))))))))))))))))))))))))))))))))))))))))))
-                                                                   (S (S (S
-                                                                   (S (S (S
-                                                                   (S (S (S
-                                                                   (S (S (S
-                                                                   (S (S (S
-                                                                   (S (S (S
-                                                                   (S (S (S
-                                                                   (S (S (S
-                                                                   (S (S (S
-                                                                   (S (S (S
-                                                                   (S (S (S
-                                                                   (S (S (S
-                                                                   (S (S (S
-                                                                   (S (S (S
-                                                                   (S (S (S
-                                                                   (S (S (S
-                                                                   (S (S (S
-                                                                   (S (S (S
-                                                                   (S (S (S
-                                                                   (S (S (S
-                                                                   (S (S (S
-                                                                   (S (S (S
-                                                                   (S (S (S
-                                                                   (S (S
-                                                                   O)))))))))))))))))))))))))))))))))))))))))))))))))))))))))))))))))))))))
-                                                                   (String
-                                                                   ((Ascii
-                                                                   (false,
-                                                                   false,
-                                                                   true,
-                                                                   false,
-                                                                   true,
-                                                                   false,
-                                                                   true,
-                                                                   false)),
-                                                                   (String
-                                                                   ((Ascii
-                                                                   (true,
-                                                                   true,
-                                                                   true,
-                                                                   true,
-                                                                   false,
-                                                                   true,
-                                                                   true,
-                                                                   false)),
-                                                                   (String
-                                                                   ((Ascii
-                                                                   (false,
-                                                                   false,
-                                                                   true,
-                                                                   false,
-                                                                   true,
-                                                                   true,
-                                                                   true,
-                                                                   false)),
-                                                                   (String
-                                                                   ((Ascii
-                                                                   (true,
-                                                                   false,
-                                                                   false,
-                                                                   false,
-                                                                   false,
-                                                                   true,
-                                                                   true,
-                                                                   false)),
-                                                                   (String
-                                                                   ((Ascii
-                                                                   (false,
-                                                                   false,
-                                                                   true,
-                                                                   true,
-                                                                   false,
-                                                                   true,
-                                                                   true,
-                                                                   false)),
-                                                                   (String
-                                                                   ((Ascii
-                                                                   (true,
-                                                                   true,
-                                                                   false,
-                                                                   false,
-                                                                   false,
-                                                                   false,
-                                                                   true,
-                                                                   false)),
-                                                                   (String
-                                                                   ((Ascii
-                                                                   (false,
-                                                                   true,
-                                                                   false,
-                                                                   false,
-                                                                   true,
-                                                                   true,
-                                                                   true,
-                                                                   false)),
-                                                                   (String
-                                                                   ((Ascii
-                                                                   (true,
-                                                                   false,
-                                                                   true,
-                                                                   false,
-                                                                   false,
-                                                                   true,
-                                                                   true,
-                                                                   false)),
-                                                                   (String
-                                                                   ((Ascii
-                                                                   (false,
-                                                                   false,
-                                                                   true,
-                                                                   false,
-                                                                   false,
-                                                                   true,
-                                                                   true,
-                                                                   false)),
-                                                                   (String
-                                                                   ((Ascii
-                                                                   (true,
-                                                                   false,
-                                                                   false,
-                                                                   true,
-                                                                   false,
-                                                                   true,
-                                                                   true,
-                                                                   false)),
-                                                                   (String
-                                                                   ((Ascii
-                                                                   (false,
-                                                                   false,
-                                                                   true,
-                                                                   false,
-                                                                   true,
-                                                                   true,
-                                                                   true,
-                                                                   false)),
-                                                                   (String
-                                                                   ((Ascii
-                                                                   (true,
-                                                                   false,
-                                                                   true,
-                                                                   false,
-                                                                   false,
-                                                                   false,
-                                                                   true,
-                                                                   false)),
-                                                                   (String
-                                                                   ((Ascii
-                                                                   (false,
-                                                                   true,
-                                                                   true,
-                                                                   true,
-                                                                   false,
-                                                                   true,
-                                                                   true,
-                                                                   false)),
-                                                                   (String
-                                                                   ((Ascii
-                                                                   (false,
-                                                                   false,
-                                                                   true,
-                                                                   false,
-                                                                   true,
-                                                                   true,
-                                                                   true,
-                                                                   false)),
-                                                                   (String
-                                                                   ((Ascii
-                                                                   (false,
-                                                                   true,
-                                                                   false,
-                                                                   false,
-                                                                   true,
-                                                                   true,
-                                                                   true,
-                                                                   false)),
-                                                                   (String
-                                                                   ((Ascii
-                                                                   (true,
-                                                                   false,
-                                                                   false,
-                                                                   true,
-                                                                   true,
-                                                                   true,
-                                                                   true,
-                                                                   false)),
-                                                                   (String
-                                                                   ((Ascii
-                                                                   (false,
-                                                                   false,
-                                                                   true,
-                                                                   false,
-                                                                   false,
-                                                                   false,
-                                                                   true,
-                                                                   false)),
-                                                                   (String
-                                                                   ((Ascii
-                                                                   (true,
-                                                                   true,
-                                                                   true,
-                                                                   true,
-                                                                   false,
-                                                                   true,
-                                                                   true,
-                                                                   false)),
-                                                                   (String
-                                                                   ((Ascii
-                                                                   (false,
-                                                                   false,
-                                                                   true,
-                                                                   true,
-                                                                   false,
-                                                                   true,
-                                                                   true,
-                                                                   false)),
-                                                                   (String
-                                                                   ((Ascii
-                                                                   (false,
-                                                                   false,
-                                                                   true,
-                                                                   true,
-                                                                   false,
-                                                                   true,
-                                                                   true,
-                                                                   false)),
-                                                                   (String
-                                                                   ((Ascii
-                                                                   (true,
-                                                                   false,
-                                                                   false,
-                                                                   false,
-                                                                   false,
-                                                                   true,
-                                                                   true,
-                                                                   false)),
-                                                                   (String
-                                                                   ((Ascii
-                                                                   (false,
-                                                                   true,
-                                                                   false,
-                                                                   false,
-                                                                   true,
-                                                                   true,
-                                                                   true,
-                                                                   false)),
-                                                                   (String
-                                                                   ((Ascii
-                                                                   (true,
-                                                                   false,
-                                                                   false,
-                                                                   false,
-                                                                   false,
-                                                                   false,
-                                                                   true,
-                                                                   false)),
-                                                                   (String
-                                                                   ((Ascii
-                                                                   (true,
-                                                                   false,
-                                                                   true,
-                                                                   true,
-                                                                   false,
-                                                                   true,
-                                                                   true,
-                                                                   false)),
-                                                                   (String
-                                                                   ((Ascii
-                                                                   (true,
-                                                                   true,
-                                                                   true,
-                                                                   true,
-                                                                   false,
-                                                                   true,
-                                                                   true,
-                                                                   false)),
-                                                                   (String
-                                                                   ((Ascii
-                                                                   (true,
-                                                                   false,
-                                                                   true,
-                                                                   false,
-                                                                   true,
-                                                                   true,
-                                                                   true,
-                                                                   false)),
-                                                                   (String
-                                                                   ((Ascii
-                                                                   (false,
-                                                                   true,
-                                                                   true,
-                                                                   true,
-                                                                   false,
-                                                                   true,
-                                                                   true,
-                                                                   false)),
-                                                                   (String
-                                                                   ((Ascii
-                                                                   (false,
-                                                                   false,
-                                                                   true,
-                                                                   false,
-                                                                   true,
-                                                                   true,
-                                                                   true,
-                                                                   false)),
-                                                                   (String
-                                                                   ((Ascii
-                                                                   (true,
-                                                                   false,
-                                                                   false,
-                                                                   true,
-                                                                   false,
-                                                                   false,
-                                                                   true,
-                                                                   false)),
-                                                                   (String
-                                                                   ((Ascii
-                                                                   (false,
-                                                                   true,
-                                                                   true,
-                                                                   true,
-                                                                   false,
-                                                                   true,
-                                                                   true,
-                                                                   false)),
-                                                                   (String
-                                                                   ((Ascii
-                                                                   (false,
-                                                                   true,
-                                                                   true,
-                                                                   false,
-                                                                   false,
-                                                                   false,
-                                                                   true,
-                                                                   false)),
-                                                                   (String
-                                                                   ((Ascii
-                                                                   (true,
-                                                                   false,
-                                                                   false,
-                                                                   true,
-                                                                   false,
-                                                                   true,
-                                                                   true,
-                                                                   false)),
-                                                                   (String
-                                                                   ((Ascii
-                                                                   (false,
-                                                                   false,
-                                                                   true,
-                                                                   true,
-                                                                   false,
-                                                                   true,
-                                                                   true,
-                                                                   false)),
-                                                                   (String
-                                                                   ((Ascii
-                                                                   (true,
-                                                                   false,
-                                                                   true,
-                                                                   false,
-                                                                   false,
-                                                                   true,
-                                                                   true,
-                                                                   false)),
-                                                                   EmptyString))))))))))))))))))))))))))))))))))))))))))))))))))))))))))))))))))))
-                                                                   ((String
-                                                                   ((Ascii
-                                                                   (false,
-                                                                   false,
-                                                                   false,
-                                                                   false,
-                                                                   true,
-                                                                   true,
-                                                                   true,
-                                                                   false)),
-                                                                   (String
-                                                                   ((Ascii
-                                                                   (true,
-                                                                   false,
-                                                                   false,
-                                                                   false,
-                                                                   false,
-                                                                   true,
-                                                                   true,
-                                                                   false)),
-                                                                   (String
-                                                                   ((Ascii
-                                                                   (false,
-                                                                   true,
-                                                                   false,
-                                                                   false,
-                                                                   true,
-                                                                   true,
-                                                                   true,
-                                                                   false)),
-                                                                   (String
-                                                                   ((Ascii
-                                                                   (true,
-                                                                   true,
-                                                                   false,
-                                                                   false,
-                                                                   true,
-                                                                   true,
-                                                                   true,
-                                                                   false)),
-                                                                   (String
-                                                                   ((Ascii
-                                                                   (true,
-                                                                   false,
-                                                                   true,
-                                                                   false,
-                                                                   false,
-                                                                   true,
-                                                                   true,
-                                                                   false)),
-                                                                   (String
-                                                                   ((Ascii
-                                                                   (false,
-                                                                   true,
-                                                                   true,
-                                                                   true,
-                                                                   false,
-                                                                   false,
-                                                                   true,
-                                                                   false)),
-                                                                   (String
-                                                                   ((Ascii
-                                                                   (true,
-                                                                   false,
-                                                                   true,
-                                                                   false,
-                                                                   true,
-                                                                   true,
-                                                                   true,
-                                                                   false)),
-                                                                   (String
-                                                                   ((Ascii
-                                                                   (true,
-                                                                   false,
-                                                                   true,
-                                                                   true,
-                                                                   false,
-                                                                   true,
-                                                                   true,
-                                                                   false)),
-                                                                   (String
-                                                                   ((Ascii
-                                                                   (false,
-                                                                   true,
-                                                                   true,
-                                                                   false,
-                                                                   false,
-                                                                   false,
-                                                                   true,
-                                                                   false)),
-                                                                   (String
-                                                                   ((Ascii
-                                                                   (true,
-                                                                   false,
-                                                                   false,
-                                                                   true,
-                                                                   false,
-                                                                   true,
-                                                                   true,
-                                                                   false)),
-                                                                   (String
-                                                                   ((Ascii
-                                                                   (true,
-                                                                   false,
-                                                                   true,
-                                                                   false,
-                                                                   false,
-                                                                   true,
-                                                                   true,
-                                                                   false)),
-                                                                   (String
-                                                                   ((Ascii
-                                                                   (false,
-                                                                   false,
-                                                                   true,
-                                                                   true,
-                                                                   false,
-                                                                   true,
-                                                                   true,
-                                                                   false)),
-                                                                   (String
-                                                                   ((Ascii
-                                                                   (false,
-                                                                   false,
-                                                                   true,
-                                                                   false,
-                                                                   false,
-                                                                   true,
-                                                                   true,
-                                                                   false)),
-                                                                   EmptyString)))))))))))))))))))))))))) :: [])) :: [])))))) }
+(** val api_flush : wpolicy -> bw -> bw * werr option **)
 
-(** val l_Addenda02 : layout **)
+let api_flush p b =
+  match p.p_api_flush with
+  | Propagate -> bw_flush b
+  | Absent -> (b, None)
+  | _ -> let (b', _) = bw_flush b in (b', None)
 
-let l_Addenda02 =
-  { l_name = (String ((Ascii (true, false, false, false, false, false, true,
-    false)), (String ((Ascii (false, false, true, false, false, true, true,
-    false)), (String ((Ascii (false, false, true, false, false, true, true,
-    false)), (String ((Ascii (true, false, true, false, false, true, true,
-    false)), (String ((Ascii (false, true, true, true, false, true, true,
-    false)), (String ((Ascii (false, false, true, false, false, true, true,
-    false)), (String ((Ascii (true, false, false, false, false, true, true,
-    false)), (String ((Ascii (false, false, false, false, true, true, false,
-    false)), (String ((Ascii (false, true, false, false, true, true, false,
-    false)), EmptyString)))))))))))))))))); l_ix = IRune; l_segs = ((SLit
-    ((Npos (XI (XI (XI (XO (XI XH)))))) :: [])) :: ((SRaw (String ((Ascii
-    (false, false, true, false, true, false, true, false)), (String ((Ascii
-    (true, false, false, true, true, true, true, false)), (String ((Ascii
-    (false, false, false, false, true, true, true, false)), (String ((Ascii
-    (true, false, true, false, false, true, true, false)), (String ((Ascii
-    (true, true, false, false, false, false, true, false)), (String ((Ascii
-    (true, true, true, true, false, true, true, false)), (String ((Ascii
-    (false, false, true, false, false, true, true, false)), (String ((Ascii
-    (true, false, true, false, false, true, true, false)),
-    EmptyString))))))))))))))))) :: ((SAlpha ((String ((Ascii (false, true,
-    false, false, true, false, true, false)), (String ((Ascii (true, false,
-    true, false, false, true, true, false)), (String ((Ascii (false, true,
-    true, false, false, true, true, false)), (String ((Ascii (true, false,
-    true, false, false, true, true, false)), (String ((Ascii (false, true,
-    false, false, true, true, true, false)), (String ((Ascii (true, false,
-    true, false, false, true, true, false)), (String ((Ascii (false, true,
-    true, true, false, true, true, false)), (String ((Ascii (true, true,
-    false, false, false, true, true, false)), (String ((Ascii (true, false,
-    true, false, false, true, true, false)), (String ((Ascii (true, false,
-    false, true, false, false, true, false)), (String ((Ascii (false, true,
-    true, true, false, true, true, false)), (String ((Ascii (false, true,
-    true, false, false, true, true, false)), (String ((Ascii (true, true,
-    true, true, false, true, true, false)), (String ((Ascii (false, true,
-    false, false, true, true, true, false)), (String ((Ascii (true, false,
-    true, true, false, true, true, false)), (String ((Ascii (true, false,
-    false, false, false, true, true, false)), (String ((Ascii (false, false,
-    true, false, true, true, true, false)), (String ((Ascii (true, false,
-    false, true, false, true, true, false)), (String ((Ascii (true, true,
-    true, true, false, true, true, false)), (String ((Ascii (false, true,
-    true, true, false, true, true, false)), (String ((Ascii (true, true,
-    true, true, false, false, true, false)), (String ((Ascii (false, true,
-    true, true, false, true, true, false)), (String ((Ascii (true, false,
-    true, false, false, true, true, false)),
-    EmptyString)))))))))))))))))))))))))))))))))))))))))))))), (S (S (S (S (S
-    (S (S O))))))))) :: ((SAlpha ((String ((Ascii (false, true, false, false,
-    true, false, true, false)), (String ((Ascii (true, false, true, false,
-    false, true, true, false)), (String ((Ascii (false, true, true, false,
-    false, true, true, false)), (String ((Ascii (true, false, true, false,
-    false, true, true, false)), (String ((Ascii (false, true, false, false,
-    true, true, true, false)), (String ((Ascii (true, false, true, false,
-    false, true, true, false)), (String ((Ascii (false, true, true, true,
-    false, true, true, false)), (String ((Ascii (true, true, false, false,
-    false, true, true, false)), (String ((Ascii (true, false, true, false,
-    false, true, true, false)), (String ((Ascii (true, false, false, true,
-    false, false, true, false)), (String ((Ascii (false, true, true, true,
-    false, true, true, false)), (String ((Ascii (false, true, true, false,
-    false, true, true, false)), (String ((Ascii (true, true, true, true,
-    false, true, true, false)), (String ((Ascii (false, true, false, false,
-    true, true, true, false)), (String ((Ascii (true, false, true, true,
-    false, true, true, false)), (String ((Ascii (true, false, false, false,
-    false, true, true, false)), (String ((Ascii (false, false, true, false,
-    true, true, true, false)), (String ((Ascii (true, false, false, true,
-    false, true, true, false)), (String ((Ascii (true, true, true, true,
-    false, true, true, false)), (String ((Ascii (false, true, true, true,
-    false, true, true, false)), (String ((Ascii (false, false, true, false,
-    true, false, true, false)), (String ((Ascii (true, true, true, false,
-    true, true, true, false)), (String ((Ascii (true, true, true, true,
-    false, true, true, false)),
-    EmptyString)))))))))))))))))))))))))))))))))))))))))))))), (S (S (S
-    O))))) :: ((SAlpha ((String ((Ascii (false, false, true, false, true,
-    false, true, false)), (String ((Ascii (true, false, true, false, false,
-    true, true, false)), (String ((Ascii (false, true, false, false, true,
-    true, true, false)), (String ((Ascii (true, false, true, true, false,
-    true, true, false)), (String ((Ascii (true, false, false, true, false,
-    true, true, false)), (String ((Ascii (false, true, true, true, false,
-    true, true, false)), (String ((Ascii (true, false, false, false, false,
-    true, true, false)), (String ((Ascii (false, false, true, true, false,
-    true, true, false)), (String ((Ascii (true, false, false, true, false,
-    false, true, false)), (String ((Ascii (false, false, true, false, false,
-    true, true, false)), (String ((Ascii (true, false, true, false, false,
-    true, true, false)), (String ((Ascii (false, true, true, true, false,
-    true, true, false)), (String ((Ascii (false, false, true, false, true,
-    true, true, false)), (String ((Ascii (true, false, false, true, false,
-    true, true, false)), (String ((Ascii (false, true, true, false, false,
-    true, true, false)), (String ((Ascii (true, false, false, true, false,
-    true, true, false)), (String ((Ascii (true, true, false, false, false,
-    true, true, false)), (String ((Ascii (true, false, false, false, false,
-    true, true, false)), (String ((Ascii (false, false, true, false, true,
-    true, true, false)), (String ((Ascii (true, false, false, true, false,
-    true, true, false)), (String ((Ascii (true, true, true, true, false,
-    true, true, false)), (String ((Ascii (false, true, true, true, false,
-    true, true, false)), (String ((Ascii (true, true, false, false, false,
-    false, true, false)), (String ((Ascii (true, true, true, true, false,
-    true, true, false)), (String ((Ascii (false, false, true, false, false,
-    true, true, false)), (String ((Ascii (true, false, true, false, false,
-    true, true, false)),
-    EmptyString)))))))))))))))))))))))))))))))))))))))))))))))))))), (S (S (S
-    (S (S (S O)))))))) :: ((SAlpha ((String ((Ascii (false, false, true,
-    false, true, false, true, false)), (String ((Ascii (false, true, false,
-    false, true, true, true, false)), (String ((Ascii (true, false, false,
-    false, false, true, true, false)), (String ((Ascii (false, true, true,
-    true, false, true, true, false)), (String ((Ascii (true, true, false,
-    false, true, true, true, false)), (String ((Ascii (true, false, false,
-    false, false, true, true, false)), (String ((Ascii (true, true, false,
-    false, false, true, true, false)), (String ((Ascii (false, false, true,
-    false, true, true, true, false)), (String ((Ascii (true, false, false,
-    true, false, true, true, false)), (String ((Ascii (true, true, true,
-    true, false, true, true, false)), (String ((Ascii (false, true, true,
-    true, false, true, true, false)), (String ((Ascii (true, true, false,
-    false, true, false, true, false)), (String ((Ascii (true, false, true,
-    false, false, true, true, false)), (String ((Ascii (false, true, false,
-    false, true, true, true, false)), (String ((Ascii (true, false, false,
-    true, false, true, true, false)), (String ((Ascii (true, false, false,
-    false, false, true, true, false)), (String ((Ascii (false, false, true,
-    true, false, true, true, false)), (String ((Ascii (false, true, true,
-    true, false, false, true, false)), (String ((Ascii (true, false, true,
-    false, true, true, true, false)), (String ((Ascii (true, false, true,
-    true, false, true, true, false)), (String ((Ascii (false, true, false,
-    false, false, true, true, false)), (String ((Ascii (true, false, true,
-    false, false, true, true, false)), (String ((Ascii (false, true, false,
-    false, true, true, true, false)),
-    EmptyString)))))))))))))))))))))))))))))))))))))))))))))), (S (S (S (S (S
-    (S O)))))))) :: ((SAlpha ((String ((Ascii (false, false, true, false,
-    true, false, true, false)), (String ((Ascii (false, true, false, false,
-    true, true, true, false)), (String ((Ascii (true, false, false, false,
-    false, true, true, false)), (String ((Ascii (false, true, true, true,
-    false, true, true, false)), (String ((Ascii (true, true, false, false,
-    true, true, true, false)), (String ((Ascii (true, false, false, false,
-    false, true, true, false)), (String ((Ascii (true, true, false, false,
-    false, true, true, false)), (String ((Ascii (false, false, true, false,
-    true, true, true, false)), (String ((Ascii (true, false, false, true,
-    false, true, true, false)), (String ((Ascii (true, true, true, true,
-    false, true, true, false)), (String ((Ascii (false, true, true, true,
-    false, true, true, false)), (String ((Ascii (false, false, true, false,
-    false, false, true, false)), (String ((Ascii (true, false, false, false,
-    false, true, true, false)), (String ((Ascii (false, false, true, false,
-    true, true, true, false)), (String ((Ascii (true, false, true, false,
-    false, true, true, false)), EmptyString)))))))))))))))))))))))))))))), (S
-    (S (S (S O)))))) :: ((SAlpha ((String ((Ascii (true, false, false, false,
-    false, false, true, false)), (String ((Ascii (true, false, true, false,
-    true, true, true, false)), (String ((Ascii (false, false, true, false,
-    true, true, true, false)), (String ((Ascii (false, false, false, true,
-    false, true, true, false)), (String ((Ascii (true, true, true, true,
-    false, true, true, false)), (String ((Ascii (false, true, false, false,
-    true, true, true, false)), (String ((Ascii (true, false, false, true,
-    false, true, true, false)), (String ((Ascii (false, true, false, true,
-    true, true, true, false)), (String ((Ascii (true, false, false, false,
-    false, true, true, false)), (String ((Ascii (false, false, true, false,
-    true, true, true, false)), (String ((Ascii (true, false, false, true,
-    false, true, true, false)), (String ((Ascii (true, true, true, true,
-    false, true, true, false)), (String ((Ascii (false, true, true, true,
-    false, true, true, false)), (String ((Ascii (true, true, false, false,
-    false, false, true, false)), (String ((Ascii (true, true, true, true,
-    false, true, true, false)), (String ((Ascii (false, false, true, false,
-    false, true, true, false)), (String ((Ascii (true, false, true, false,
-    false, true, true, false)), (String ((Ascii (true, true, true, true,
-    false, false, true, false)), (String ((Ascii (false, true, false, false,
-    true, true, true, false)), (String ((Ascii (true, false, true, false,
-    false, false, true, false)), (String ((Ascii (false, false, false, true,
-    true, true, true, false)), (String ((Ascii (false, false, false, false,
-    true, true, true, false)), (String ((Ascii (true, false, false, true,
-    false, true, true, false)), (String ((Ascii (false, true, false, false,
-    true, true, true, false)), (String ((Ascii (true, false, true, false,
-    false, true, true, false)), (String ((Ascii (false, false, true, false,
-    false, false, true, false)), (String ((Ascii (true, false, false, false,
-    false, true, true, false)), (String ((Ascii (false, false, true, false,
-    true, true, true, false)), (String ((Ascii (true, false, true, false,
-    false, true, true, false)),
-    EmptyString)))))))))))))))))))))))))))))))))))))))))))))))))))))))))), (S
-    (S (S (S (S (S O)))))))) :: ((SAlpha ((String ((Ascii (false, false,
-    true, false, true, false, true, false)), (String ((Ascii (true, false,
-    true, false, false, true, true, false)), (String ((Ascii (false, true,
-    false, false, true, true, true, false)), (String ((Ascii (true, false,
-    true, true, false, true, true, false)), (String ((Ascii (true, false,
-    false, true, false, true, true, false)), (String ((Ascii (false, true,
-    true, true, false, true, true, false)), (String ((Ascii (true, false,
-    false, false, false, true, true, false)), (String ((Ascii (false, false,
-    true, true, false, true, true, false)), (String ((Ascii (false, false,
-    true, true, false, false, true, false)), (String ((Ascii (true, true,
-    true, true, false, true, true, false)), (String ((Ascii (true, true,
-    false, false, false, true, true, false)), (String ((Ascii (true, false,
-    false, false, false, true, true, false)), (String ((Ascii (false, false,
-    true, false, true, true, true, false)), (String ((Ascii (true, false,
-    false, true, false, true, true, false)), (String ((Ascii (true, true,
-    true, true, false, true, true, false)), (String ((Ascii (false, true,
-    true, true, false, true, true, false)),
-    EmptyString)))))))))))))))))))))))))))))))), (S (S (S (S (S (S (S (S (S
-    (S (S (S (S (S (S (S (S (S (S (S (S (S (S (S (S (S (S
-    O))))))))))))))))))))))))))))) :: ((SAlpha ((String ((Ascii (false,
-    false, true, false, true, false, true, false)), (String ((Ascii (true,
-    false, true, false, false, true, true, false)), (String ((Ascii (false,
-    true, false, false, true, true, true, false)), (String ((Ascii (true,
-    false, true, true, false, true, true, false)), (String ((Ascii (true,
-    false, false, true, false, true, true, false)), (String ((Ascii (false,
-    true, true, true, false, true, true, false)), (String ((Ascii (true,
-    false, false, false, false, true, true, false)), (String ((Ascii (false,
-    false, true, true, false, true, true, false)), (String ((Ascii (true,
-    true, false, false, false, false, true, false)), (String ((Ascii (true,
-    false, false, true, false, true, true, false)), (String ((Ascii (false,
-    false, true, false, true, true, true, false)), (String ((Ascii (true,
-    false, false, true, true, true, true, false)),
-    EmptyString)))))))))))))))))))))))), (S (S (S (S (S (S (S (S (S (S (S (S
-    (S (S (S O))))))))))))))))) :: ((SAlpha ((String ((Ascii (false, false,
-    true, false, true, false, true, false)), (String ((Ascii (true, false,
-    true, false, false, true, true, false)), (String ((Ascii (false, true,
-    false, false, true, true, true, false)), (String ((Ascii (true, false,
-    true, true, false, true, true, false)), (String ((Ascii (true, false,
-    false, true, false, true, true, false)), (String ((Ascii (false, true,
-    true, true, false, true, true, false)), (String ((Ascii (true, false,
-    false, false, false, true, true, false)), (String ((Ascii (false, false,
-    true, true, false, true, true, false)), (String ((Ascii (true, true,
-    false, false, true, false, true, false)), (String ((Ascii (false, false,
-    true, false, true, true, true, false)), (String ((Ascii (true, false,
-    false, false, false, true, true, false)), (String ((Ascii (false, false,
-    true, false, true, true, true, false)), (String ((Ascii (true, false,
-    true, false, false, true, true, false)),
-    EmptyString)))))))))))))))))))))))))), (S (S O)))) :: ((SStr ((String
-    ((Ascii (false, false, true, false, true, false, true, false)), (String
-    ((Ascii (false, true, false, false, true, true, true, false)), (String
-    ((Ascii (true, false, false, false, false, true, true, false)), (String
-    ((Ascii (true, true, false, false, false, true, true, false)), (String
-    ((Ascii (true, false, true, false, false, true, true, false)), (String
-    ((Ascii (false, true, true, true, false, false, true, false)), (String
-    ((Ascii (true, false, true, false, true, true, true, false)), (String
-    ((Ascii (true, false, true, true, false, true, true, false)), (String
-    ((Ascii (false, true, false, false, false, true, true, false)), (String
-    ((Ascii (true, false, true, false, false, true, true, false)), (String
-    ((Ascii (false, true, false, false, true, true, true, false)),
-    EmptyString)))))))))))))))))))))), (S (S (S (S (S (S (S (S (S (S (S (S (S
-    (S (S O))))))))))))))))) :: [])))))))))))); l_cuts =
-    ((mkcut O (S O) EmptyString []) :: ((mkcut (S O) (S (S (S O))) (String
-                                          ((Ascii (false, false, true, false,
-                                          true, false, true, false)), (String
-                                          ((Ascii (true, false, false, true,
-                                          true, true, true, false)), (String
-                                          ((Ascii (false, false, false,
-                                          false, true, true, true, false)),
-                                          (String ((Ascii (true, false, true,
-                                          false, false, true, true, false)),
-                                          (String ((Ascii (true, true, false,
-                                          false, false, false, true, false)),
-                                          (String ((Ascii (true, true, true,
-                                          true, false, true, true, false)),
-                                          (String ((Ascii (false, false,
-                                          true, false, false, true, true,
-                                          false)), (String ((Ascii (true,
-                                          false, true, false, false, true,
-                                          true, false)),
-                                          EmptyString)))))))))))))))) []) :: (
-    (mkcut (S (S (S O))) (S (S (S (S (S (S (S (S (S (S O)))))))))) (String
-      ((Ascii (false, true, false, false, true, false, true, false)), (String
-      ((Ascii (true, false, true, false, false, true, true, false)), (String
-      ((Ascii (false, true, true, false, false, true, true, false)), (String
-      ((Ascii (true, false, true, false, false, true, true, false)), (String
-      ((Ascii (false, true, false, false, true, true, true, false)), (String
-      ((Ascii (true, false, true, false, false, true, true, false)), (String
-      ((Ascii (false, true, true, true, false, true, true, false)), (String
-      ((Ascii (true, true, false, false, false, true, true, false)), (String
-      ((Ascii (true, false, true, false, false, true, true, false)), (String
-      ((Ascii (true, false, false, true, false, false, true, false)), (String
-      ((Ascii (false, true, true, true, false, true, true, false)), (String
-      ((Ascii (false, true, true, false, false, true, true, false)), (String
-      ((Ascii (true, true, true, true, false, true, true, false)), (String
-      ((Ascii (false, true, false, false, true, true, true, false)), (String
-      ((Ascii (true, false, true, true, false, true, true, false)), (String
-      ((Ascii (true, false, false, false, false, true, true, false)), (String
-      ((Ascii (false, false, true, false, true, true, true, false)), (String
-      ((Ascii (true, false, false, true, false, true, true, false)), (String
-      ((Ascii (true, true, true, true, false, true, true, false)), (String
-      ((Ascii (false, true, true, true, false, true, true, false)), (String
-      ((Ascii (true, true, true, true, false, false, true, false)), (String
-      ((Ascii (false, true, true, true, false, true, true, false)), (String
-      ((Ascii (true, false, true, false, false, true, true, false)),
-      EmptyString)))))))))))))))))))))))))))))))))))))))))))))) ((String
-      ((Ascii (true, true, false, false, true, true, true, false)), (String
-      ((Ascii (false, false, true, false, true, true, true, false)), (String
-      ((Ascii (false, true, false, false, true, true, true, false)), (String
-      ((Ascii (true, false, false, true, false, true, true, false)), (String
-      ((Ascii (false, true, true, true, false, true, true, false)), (String
-      ((Ascii (true, true, true, false, false, true, true, false)), (String
-      ((Ascii (true, true, false, false, true, true, true, false)), (String
-      ((Ascii (false, true, true, true, false, true, false, false)), (String
-      ((Ascii (false, false, true, false, true, false, true, false)), (String
-      ((Ascii (false, true, false, false, true, true, true, false)), (String
-      ((Ascii (true, false, false, true, false, true, true, false)), (String
-      ((Ascii (true, false, true, true, false, true, true, false)), (String
-      ((Ascii (true, true, false, false, true, false, true, false)), (String
-      ((Ascii (false, false, false, false, true, true, true, false)), (String
-      ((Ascii (true, false, false, false, false, true, true, false)), (String
-      ((Ascii (true, true, false, false, false, true, true, false)), (String
-      ((Ascii (true, false, true, false, false, true, true, false)),
-      EmptyString)))))))))))))))))))))))))))))))))) :: [])) :: ((mkcut (S (S
-                                                                  (S (S (S (S
-                                                                  (S (S (S (S
-                                                                  O))))))))))
-                                                                  (S (S (S (S
-                                                                  (S (S (S (S
-                                                                  (S (S (S (S
-                                                                  (S
-                                                                  O)))))))))))))
-                                                                  (String
-                                                                  ((Ascii
-                                                                  (false,
-                                                                  true,
-                                                                  false,
-                                                                  false,
-                                                                  true,
-                                                                  false,
-                                                                  true,
-                                                                  false)),
-                                                                  (String
-                                                                  ((Ascii
-                                                                  (true,
-                                                                  false,
-                                                                  true,
-                                                                  false,
-                                                                  false,
-                                                                  true, true,
-                                                                  false)),
-                                                                  (String
-                                                                  ((Ascii
-                                                                  (false,
-                                                                  true, true,
-                                                                  false,
-                                                                  false,
-                                                                  true, true,
-                                                                  false)),
-                                                                  (String
-                                                                  ((Ascii
-                                                                  (true,
-                                                                  false,
-                                                                  true,
-                                                                  false,
-                                                                  false,
-                                                                  true, true,
-                                                                  false)),
-                                                                  (String
-                                                                  ((Ascii
-                                                                  (false,
-                                                                  true,
-                                                                  false,
-                                                                  false,
-                                                                  true, true,
-                                                                  true,
-                                                                  false)),
-                                                                  (String
-                                                                  ((Ascii
-                                                                  (true,
-                                                                  false,
-                                                                  true,
-                                                                  false,
-                                                                  false,
-                                                                  true, true,
-                                                                  false)),
-                                                                  (String
-                                                                  ((Ascii
-                                                                  (false,
-                                                                  true, true,
-                                                                  true,
-                                                                  false,
-                                                                  true, true,
-                                                                  false)),
-                                                                  (String
-                                                                  ((Ascii
-                                                                  (true,
-                                                                  true,
-                                                                  false,
-                                                                  false,
-                                                                  false,
-                                                                  true, true,
-                                                                  false)),
-                                                                  (String
-                                                                  ((Ascii
-                                                                  (true,
-                                                                  false,
-                                                                  true,
-                                                                  false,
-                                                                  false,
-                                                                  true, true,
-                                                                  false)),
-                                                                  (String
-                                                                  ((Ascii
-                                                                  (true,
-                                                                  false,
-                                                                  false,
-                                                                  true,
-                                                                  false,
-                                                                  false,
-                                                                  true,
-                                                                  false)),
-                                                                  (String
-                                                                  ((Ascii
-                                                                  (false,
-                                                                  true, true,
-                                                                  true,
-                                                                  false,
-                                                                  true, true,
-                                                                  false)),
-                                                                  (String
-                                                                  ((Ascii
-                                                                  (false,
-                                                                  true, true,
-                                                                  false,
-                                                                  false,
-                                                                  true, true,
-                                                                  false)),
-                                                                  (String
-                                                                  ((Ascii
-                                                                  (true,
-                                                                  true, true,
-                                                                  true,
-                                                                  false,
-                                                                  true, true,
-                                                                  false)),
-                                                                  (String
-                                                                  ((Ascii
-                                                                  (false,
-                                                                  true,
-                                                                  false,
-                                                                  false,
-                                                                  true, true,
-                                                                  true,
-                                                                  false)),
-                                                                  (String
-                                                                  ((Ascii
-                                                                  (true,
-                                                                  false,
-                                                                  true, true,
-                                                                  false,
-                                                                  true, true,
-                                                                  false)),
-                                                                  (String
-                                                                  ((Ascii
-                                                                  (true,
-                                                                  false,
-                                                                  false,
-                                                                  false,
-                                                                  false,
-                                                                  true, true,
-                                                                  false)),
-                                                                  (String
-                                                                  ((Ascii
-                                                                  (false,
-                                                                  false,
-                                                                  true,
-                                                                  false,
-                                                                  true, true,
-                                                                  true,
-                                                                  false)),
-                                                                  (String
-                                                                  ((Ascii
-                                                                  (true,
-                                                                  false,
-                                                                  false,
-                                                                  true,
-                                                                  false,
-                                                                  true, true,
-                                                                  false)),
-                                                                  (String
-                                                                  ((Ascii
-                                                                  (true,
-                                                                  true, true,
-                                                                  true,
-                                                                  false,
-                                                                  true, true,
-                                                                  false)),
-                                                                  (String
-                                                                  ((Ascii
-                                                                  (false,
-                                                                  true, true,
-                                                                  true,
-                                                                  false,
-                                                                  true, true,
-                                                                  false)),
-                                                                  (String
-                                                                  ((Ascii
-                                                                  (false,
-                                                                  false,
-                                                                  true,
-                                                                  false,
-                                                                  true,
-                                                                  false,
-                                                                  true,
-                                                                  false)),
-                                                                  (String
-                                                                  ((Ascii
-                                                                  (true,
-                                                                  true, true,
-                                                                  false,
-                                                                  true, true,
-                                                                  true,
-                                                                  false)),
-                                                                  (String
-                                                                  ((Ascii
-                                                                  (true,
-                                                                  true, true,
-                                                                  true,
-                                                                  false,
-                                                                  true, true,
-                                                                  false)),
-                                                                  EmptyString))))))))))))))))))))))))))))))))))))))))))))))
-                                                                  ((String
-                                                                  ((Ascii
-                                                                  (true,
-                                                                  true,
-                                                                  false,
-                                                                  false,
-                                                                  true, true,
-                                                                  true,
-                                                                  false)),
-                                                                  (String
-                                                                  ((Ascii
-                                                                  (false,
-                                                                  false,
-                                                                  true,
-                                                                  false,
-                                                                  true, true,
-                                                                  true,
-                                                                  false)),
-                                                                  (String
-                                                                  ((Ascii
-                                                                  (false,
-                                                                  true,
-                                                                  false,
-                                                                  false,
-                                                                  true, true,
-                                                                  true,
-                                                                  false)),
-                                                                  (String
-                                                                  ((Ascii
-                                                                  (true,
-                                                                  false,
-                                                                  false,
-                                                                  true,
-                                                                  false,
-                                                                  true, true,
-                                                                  false)),
-                                                                  (String
-                                                                  ((Ascii
-                                                                  (false,
-                                                                  true, true,
-                                                                  true,
-                                                                  false,
-                                                                  true, true,
-                                                                  false)),
-                                                                  (String
-                                                                  ((Ascii
-                                                                  (true,
-                                                                  true, true,
-                                                                  false,
-                                                                  false,
-                                                                  true, true,
-                                                                  false)),
-                                                                  (String
-                                                                  ((Ascii
-                                                                  (true,
-                                                                  true,
-                                                                  false,
-                                                                  false,
-                                                                  true, true,
-                                                                  true,
-                                                                  false)),
-                                                                  (String
-                                                                  ((Ascii
-                                                                  (false,
-                                                                  true, true,
-                                                                  true,
-                                                                  false,
-                                                                  true,
-                                                                  false,
-                                                                  false)),
-                                                                  (String
-                                                                  ((Ascii
-                                                                  (false,
-                                                                  false,
-                                                                  true,
-                                                                  false,
-                                                                  true,
-                                                                  false,
-                                                                  true,
-                                                                  false)),
-                                                                  (String
-                                                                  ((Ascii
-                                                                  (false,
-                                                                  true,
-                                                                  false,
-                                                                  false,
-                                                                  true, true,
-                                                                  true,
-                                                                  false)),
-                                                                  (String
-                                                                  ((Ascii
-                                                                  (true,
-                                                                  false,
-                                                                  false,
-                                                                  true,
-                                                                  false,
-                                                                  true, true,
-                                                                  false)),
-                                                                  (String
-                                                                  ((Ascii
-                                                                  (true,
-                                                                  false,
-                                                                  true, true,
-                                                                  false,
-                                                                  true, true,
-                                                                  false)),
-                                                                  (String
-                                                                  ((Ascii
-                                                                  (true,
-                                                                  true,
-                                                                  false,
-                                                                  false,
-                                                                  true,
-                                                                  false,
-                                                                  true,
-                                                                  false)),
-                                                                  (String
-                                                                  ((Ascii
-                                                                  (false,
-                                                                  false,
-                                                                  false,
-                                                                  false,
-                                                                  true, true,
-                                                                  true,
-                                                                  false)),
-                                                                  (String
-                                                                  ((Ascii
-                                                                  (true,
-                                                                  false,
-                                                                  false,
-                                                                  false,
-                                                                  false,
-                                                                  true, true,
-                                                                  false)),
-                                                                  (String
-                                                                  ((Ascii
-                                                                  (true,
-                                                                  true,
-                                                                  false,
-                                                                  false,
-                                                                  false,
-                                                                  true, true,
-                                                                  false)),
-                                                                  (String
-                                                                  ((Ascii
-                                                                  (true,
-                                                                  false,
-                                                                  true,
-                                                                  false,
-                                                                  false,
-                                                                  true, true,
-                                                                  false)),
-                                                                  EmptyString)))))))))))))))))))))))))))))))))) :: [])) :: (
-    (mkcut (S (S (S (S (S (S (S (S (S (S (S (S (S O))))))))))))) (S (S (S (S
-      (S (S (S (S (S (S (S (S (S (S (S (S (S (S (S O)))))))))))))))))))
-      (String ((Ascii (false, false, true, false, true, false, true, false)),
-      (String ((Ascii (true, false, true, false, false, true, true, false)),
-      (String ((Ascii (false, true, false, false, true, true, true, false)),
-      (String ((Ascii (true, false, true, true, false, true, true, false)),
-      (String ((Ascii (true, false, false, true, false, true, true, false)),
-      (String ((Ascii (false, true, true, true, false, true, true, false)),
-      (String ((Ascii (true, false, false, false, false, true, true, false)),
-      (String ((Ascii (false, false, true, true, false, true, true, false)),
-      (String ((Ascii (true, false, false, true, false, false, true, false)),
-      (String ((Ascii (false, false, true, false, false, true, true, false)),
-      (String ((Ascii (true, false, true, false, false, true, true, false)),
-      (String ((Ascii (false, true, true, true, false, true, true, false)),
-      (String ((Ascii (false, false, true, false, true, true, true, false)),
-      (String ((Ascii (true, false, false, true, false, true, true, false)),
-      (String ((Ascii (false, true, true, false, false, true, true, false)),
-      (String ((Ascii (true, false, false, true, false, true, true, false)),
-      (String ((Ascii (true, true, false, false, false, true, true, false)),
-      (String ((Ascii (true, false, false, false, false, true, true, false)),
-      (String ((Ascii (false, false, true, false, true, true, true, false)),
-      (String ((Ascii (true, false, false, true, false, true, true, false)),
-      (String ((Ascii (true, true, true, true, false, true, true, false)),
-      (String ((Ascii (false, true, true, true, false, true, true, false)),
-      (String ((Ascii (true, true, false, false, false, false, true, false)),
-      (String ((Ascii (true, true, true, true, false, true, true, false)),
-      (String ((Ascii (false, false, true, false, false, true, true, false)),
-      (String ((Ascii (true, false, true, false, false, true, true, false)),
-      EmptyString))))))))))))))))))))))))))))))))))))))))))))))))))))
-      ((String ((Ascii (true, true, false, false, true, true, true, false)),
-      (String ((Ascii (false, false, true, false, true, true, true, false)),
-      (String ((Ascii (false, true, false, false, true, true, true, false)),
-      (String ((Ascii (true, false, false, true, false, true, true, false)),
-      (String ((Ascii (false, true, true, true, false, true, true, false)),
-      (String ((Ascii (true, true, true, false, false, true, true, false)),
-      (String ((Ascii (true, true, false, false, true, true, true, false)),
-      (String ((Ascii (false, true, true, true, false, true, false, false)),
-      (String ((Ascii (false, false, true, false, true, false, true, false)),
-      (String ((Ascii (false, true, false, false, true, true, true, false)),
-      (String ((Ascii (true, false, false, true, false, true, true, false)),
-      (String ((Ascii (true, false, true, true, false, true, true, false)),
-      (String ((Ascii (true, true, false, false, true, false, true, false)),
-      (String ((Ascii (false, false, false, false, true, true, true, false)),
-      (String ((Ascii (true, false, false, false, false, true, true, false)),
-      (String ((Ascii (true, true, false, false, false, true, true, false)),
-      (String ((Ascii (true, false, true, false, false, true, true, false)),
-      EmptyString)))))))))))))))))))))))))))))))))) :: [])) :: ((mkcut (S (S
-                                                                  (S (S (S (S
-                                                                  (S (S (S (S
-                                                                  (S (S (S (S
-                                                                  (S (S (S (S
-                                                                  (S
-                                                                  O)))))))))))))))))))
-                                                                  (S (S (S (S
-                                                                  (S (S (S (S
-                                                                  (S (S (S (S
-                                                                  (S (S (S (S
-                                                                  (S (S (S (S
-                                                                  (S (S (S (S
-                                                                  (S
-                                                                  O)))))))))))))))))))))))))
-                                                                  (String
-                                                                  ((Ascii
-                                                                  (false,
-                                                                  false,
-                                                                  true,
-                                                                  false,
-                                                                  true,
-                                                                  false,
-                                                                  true,
-                                                                  false)),
-                                                                  (String
-                                                                  ((Ascii
-                                                                  (false,
-                                                                  true,
-                                                                  false,
-                                                                  false,
-                                                                  true, true,
-                                                                  true,
-                                                                  false)),
-                                                                  (String
-                                                                  ((Ascii
-                                                                  (true,
-                                                                  false,
-                                                                  false,
-                                                                  false,
-                                                                  false,
-                                                                  true, true,
-                                                                  false)),
-                                                                  (String
-                                                                  ((Ascii
-                                                                  (false,
-                                                                  true, true,
-                                                                  true,
-                                                                  false,
-                                                                  true, true,
-                                                                  false)),
-                                                                  (String
-                                                                  ((Ascii
-                                                                  (true,
-                                                                  true,
-                                                                  false,
-                                                                  false,
-                                                                  true, true,
-                                                                  true,
-                                                                  false)),
-                                                                  (String
-                                                                  ((Ascii
-                                                                  (true,
-                                                                  false,
-                                                                  false,
-                                                                  false,
-                                                                  false,
-                                                                  true, true,
-                                                                  false)),
-                                                                  (String
-                                                                  ((Ascii
-                                                                  (true,
-                                                                  true,
-                                                                  false,
-                                                                  false,
-                                                                  false,
-                                                                  true, true,
-                                                                  false)),
-                                                                  (String
-                                                                  ((Ascii
-                                                                  (false,
-                                                                  false,
-                                                                  true,
-                                                                  false,
-                                                                  true, true,
-                                                                  true,
-                                                                  false)),
-                                                                  (String
-                                                                  ((Ascii
-                                                                  (true,
-                                                                  false,
-                                                                  false,
-                                                                  true,
-                                                                  false,
-                                                                  true, true,
-                                                                  false)),
-                                                                  (String
-                                                                  ((Ascii
-                                                                  (true,
-                                                                  true, true,
-                                                                  true,
-                                                                  false,
-                                                                  true, true,
-                                                                  false)),
-                                                                  (String
-                                                                  ((Ascii
-                                                                  (false,
-                                                                  true, true,
-                                                                  true,
-                                                                  false,
-                                                                  true, true,
-                                                                  false)),
-                                                                  (String
-                                                                  ((Ascii
-                                                                  (true,
-                                                                  true,
-                                                                  false,
-                                                                  false,
-                                                                  true,
-                                                                  false,
-                                                                  true,
-                                                                  false)),
-                                                                  (String
-                                                                  ((Ascii
-                                                                  (true,
-                                                                  false,
-                                                                  true,
-                                                                  false,
-                                                                  false,
-                                                                  true, true,
-                                                                  false)),
-                                                                  (String
-                                                                  ((Ascii
-                                                                  (false,
-                                                                  true,
-                                                                  false,
-                                                                  false,
-                                                                  true, true,
-                                                                  true,
-                                                                  false)),
-                                                                  (String
-                                                                  ((Ascii
-                                                                  (true,
-                                                                  false,
-                                                                  false,
-                                                                  true,
-                                                                  false,
-                                                                  true, true,
-                                                                  false)),
-                                                                  (String
-                                                                  ((Ascii
-                                                                  (true,
-                                                                  false,
-                                                                  false,
-                                                                  false,
-                                                                  false,
-                                                                  true, true,
-                                                                  false)),
-                                                                  (String
-                                                                  ((Ascii
-                                                                  (false,
-                                                                  false,
-                                                                  true, true,
-                                                                  false,
-                                                                  true, true,
-                                                                  false)),
-                                                                  (String
-                                                                  ((Ascii
-                                                                  (false,
-                                                                  true, true,
-                                                                  true,
-                                                                  false,
-                                                                  false,
-                                                                  true,
-                                                                  false)),
-                                                                  (String
-                                                                  ((Ascii
-                                                                  (true,
-                                                                  false,
-                                                                  true,
-                                                                  false,
-                                                                  true, true,
-                                                                  true,
-                                                                  false)),
-                                                                  (String
-                                                                  ((Ascii
-                                                                  (true,
-                                                                  false,
-                                                                  true, true,
-                                                                  false,
-                                                                  true, true,
-                                                                  false)),
-                                                                  (String
-                                                                  ((Ascii
-                                                                  (false,
-                                                                  true,
-                                                                  false,
-                                                                  false,
-                                                                  false,
-                                                                  true, true,
-                                                                  false)),
-                                                                  (String
-                                                                  ((Ascii
-                                                                  (true,
-                                                                  false,
-                                                                  true,
-                                                                  false,
-                                                                  false,
-                                                                  true, true,
-                                                                  false)),
-                                                                  (String
-                                                                  ((Ascii
-                                                                  (false,
-                                                                  true,
-                                                                  false,
-                                                                  false,
-                                                                  true, true,
-                                                                  true,
-                                                                  false)),
-                                                                  EmptyString))))))))))))))))))))))))))))))))))))))))))))))
-                                                                  ((String
-                                                                  ((Ascii
-                                                                  (true,
-                                                                  true,
-                                                                  false,
-                                                                  false,
-                                                                  true, true,
-                                                                  true,
-                                                                  false)),
-                                                                  (String
-                                                                  ((Ascii
-                                                                  (false,
-                                                                  false,
-                                                                  true,
-                                                                  false,
-                                                                  true, true,
-                                                                  true,
-                                                                  false)),
-                                                                  (String
-                                                                  ((Ascii
-                                                                  (false,
-                                                                  true,
-                                                                  false,
-                                                                  false,
-                                                                  true, true,
-                                                                  true,
-                                                                  false)),
-                                                                  (String
-                                                                  ((Ascii
-                                                                  (true,
-                                                                  false,
-                                                                  false,
-                                                                  true,
-                                                                  false,
-                                                                  true, true,
-                                                                  false)),
-                                                                  (String
-                                                                  ((Ascii
-                                                                  (false,
-                                                                  true, true,
-                                                                  true,
-                                                                  false,
-                                                                  true, true,
-                                                                  false)),
-                                                                  (String
-                                                                  ((Ascii
-                                                                  (true,
-                                                                  true, true,
-                                                                  false,
-                                                                  false,
-                                                                  true, true,
-                                                                  false)),
-                                                                  (String
-                                                                  ((Ascii
-                                                                  (true,
-                                                                  true,
-                                                                  false,
-                                                                  false,
-                                                                  true, true,
-                                                                  true,
-                                                                  false)),
-                                                                  (String
-                                                                  ((Ascii
-                                                                  (false,
-                                                                  true, true,
-                                                                  true,
-                                                                  false,
-                                                                  true,
-                                                                  false,
-                                                                  false)),
-                                                                  (String
-                                                                  ((Ascii
-                                                                  (false,
-                                                                  false,
-                                                                  true,
-                                                                  false,
-                                                                  true,
-                                                                  false,
-                                                                  true,
-                                                                  false)),
-                                                                  (String
-                                                                  ((Ascii
-                                                                  (false,
-                                                                  true,
-                                                                  false,
-                                                                  false,
-                                                                  true, true,
-                                                                  true,
-                                                                  false)),
-                                                                  (String
-                                                                  ((Ascii
-                                                                  (true,
-                                                                  false,
-                                                                  false,
-                                                                  true,
-                                                                  false,
-                                                                  true, true,
-                                                                  false)),
-                                                                  (String
-                                                                  ((Ascii
-                                                                  (true,
-                                                                  false,
-                                                                  true, true,
-                                                                  false,
-                                                                  true, true,
-                                                                  false)),
-                                                                  (String
-                                                                  ((Ascii
-                                                                  (true,
-                                                                  true,
-                                                                  false,
-                                                                  false,
-                                                                  true,
-                                                                  false,
-                                                                  true,
-                                                                  false)),
-                                                                  (String
-                                                                  ((Ascii
-                                                                  (false,
-                                                                  false,
-                                                                  false,
-                                                                  false,
-                                                                  true, true,
-                                                                  true,
-                                                                  false)),
-                                                                  (String
-                                                                  ((Ascii
-                                                                  (true,
-                                                                  false,
-                                                                  false,
-                                                                  false,
-                                                                  false,
-                                                                  true, true,
-                                                                  false)),
-                                                                  (String
-                                                                  ((Ascii
-                                                                  (true,
-                                                                  true,
-                                                                  false,
-                                                                  false,
-                                                                  false,
-                                                                  true, true,
-                                                                  false)),
-                                                                  (String
-                                                                  ((Ascii
-                                                                  (true,
-                                                                  false,
-                                                                  true,
-                                                                  false,
-                                                                  false,
-                                                                  true, true,
-                                                                  false)),
-                                                                  EmptyString)))))))))))))))))))))))))))))))))) :: [])) :: (
-    (mkcut (S (S (S (S (S (S (S (S (S (S (S (S (S (S (S (S (S (S (S (S (S (S
-      (S (S (S O))))))))))))))))))))))))) (S (S (S (S (S (S (S (S (S (S (S (S
-      (S (S (S (S (S (S (S (S (S (S (S (S (S (S (S (S (S
-      O))))))))))))))))))))))))))))) (String ((Ascii (false, false, true,
-      false, true, false, true, false)), (String ((Ascii (false, true, false,
-      false, true, true, true, false)), (String ((Ascii (true, false, false,
-      false, false, true, true, false)), (String ((Ascii (false, true, true,
-      true, false, true, true, false)), (String ((Ascii (true, true, false,
-      false, true, true, true, false)), (String ((Ascii (true, false, false,
-      false, false, true, true, false)), (String ((Ascii (true, true, false,
-      false, false, true, true, false)), (String ((Ascii (false, false, true,
-      false, true, true, true, false)), (String ((Ascii (true, false, false,
-      true, false, true, true, false)), (String ((Ascii (true, true, true,
-      true, false, true, true, false)), (String ((Ascii (false, true, true,
-      true, false, true, true, false)), (String ((Ascii (false, false, true,
-      false, false, false, true, false)), (String ((Ascii (true, false,
-      false, false, false, true, true, false)), (String ((Ascii (false,
-      false, true, false, true, true, true, false)), (String ((Ascii (true,
-      false, true, false, false, true, true, false)),
-      EmptyString)))))))))))))))))))))))))))))) ((String ((Ascii (true, true,
-      false, false, true, true, true, false)), (String ((Ascii (false, false,
-      true, false, true, true, true, false)), (String ((Ascii (false, true,
-      false, false, true, true, true, false)), (String ((Ascii (true, false,
-      false, true, false, true, true, false)), (String ((Ascii (false, true,
-      true, true, false, true, true, false)), (String ((Ascii (true, true,
-      true, false, false, true, true, false)), (String ((Ascii (true, true,
-      false, false, true, true, true, false)), (String ((Ascii (false, true,
-      true, true, false, true, false, false)), (String ((Ascii (false, false,
-      true, false, true, false, true, false)), (String ((Ascii (false, true,
-      false, false, true, true, true, false)), (String ((Ascii (true, false,
-      false, true, false, true, true, false)), (String ((Ascii (true, false,
-      true, true, false, true, true, false)), (String ((Ascii (true, true,
-      false, false, true, false, true, false)), (String ((Ascii (false,
-      false, false, false, true, true, true, false)), (String ((Ascii (true,
-      false, false, false, false, true, true, false)), (String ((Ascii (true,
-      true, false, false, false, true, true, false)), (String ((Ascii (true,
-      false, true, false, false, true, true, false)),
-      EmptyString)))))))))))))))))))))))))))))))))) :: [])) :: ((mkcut (S (S
-                                                                  (S (S (S (S
-                                                                  (S (S (S (S
-                                                                  (S (S (S (S
-                                                                  (S (S (S (S
-                                                                  (S (S (S (S
-                                                                  (S (S (S (S
-                                                                  (S (S (S
-                                                                  O)))))))))))))))))))))))))))))
-                                                                  (S (S (S (S
-                                                                  (S (S (S (S
-                                                                  (S (S (S (S
-                                                                  (S (S (S (S
-                                                                  (S (S (S (S
-                                                                  (S (S (S (S
-                                                                  (S (S (S (S
-                                                                  (S (S (S (S
-                                                                  (S (S (S
-                                                                  O)))))))))))))))))))))))))))))))))))
-                                                                  (String
-                                                                  ((Ascii
-                                                                  (true,
-                                                                  false,
-                                                                  false,
-                                                                  false,
-                                                                  false,
-                                                                  false,
-                                                                  true,
-                                                                  false)),
-                                                                  (String
-                                                                  ((Ascii
-                                                                  (true,
-                                                                  false,
-                                                                  true,
-                                                                  false,
-                                                                  true, true,
-                                                                  true,
-                                                                  false)),
-                                                                  (String
-                                                                  ((Ascii
-                                                                  (false,
-                                                                  false,
-                                                                  true,
-                                                                  false,
-                                                                  true, true,
-                                                                  true,
-                                                                  false)),
-                                                                  (String
-                                                                  ((Ascii
-                                                                  (false,
-                                                                  false,
-                                                                  false,
-                                                                  true,
-                                                                  false,
-                                                                  true, true,
-                                                                  false)),
-                                                                  (String
-                                                                  ((Ascii
-                                                                  (true,
-                                                                  true, true,
-                                                                  true,
-                                                                  false,
-                                                                  true, true,
-                                                                  false)),
-                                                                  (String
-                                                                  ((Ascii
-                                                                  (false,
-                                                                  true,
-                                                                  false,
-                                                                  false,
-                                                                  true, true,
-                                                                  true,
-                                                                  false)),
-                                                                  (String
-                                                                  ((Ascii
-                                                                  (true,
-                                                                  false,
-                                                                  false,
-                                                                  true,
-                                                                  false,
-                                                                  true, true,
-                                                                  false)),
-                                                                  (String
-                                                                  ((Ascii
-                                                                  (false,
-                                                                  true,
-                                                                  false,
-                                                                  true, true,
-                                                                  true, true,
-                                                                  false)),
-                                                                  (String
-                                                                  ((Ascii
-                                                                  (true,
-                                                                  false,
-                                                                  false,
-                                                                  false,
-                                                                  false,
-                                                                  true, true,
-                                                                  false)),
-                                                                  (String
-                                                                  ((Ascii
-                                                                  (false,
-                                                                  false,
-                                                                  true,
-                                                                  false,
-                                                                  true, true,
-                                                                  true,
-                                                                  false)),
-                                                                  (String
-                                                                  ((Ascii
-                                                                  (true,
-                                                                  false,
-                                                                  false,
-                                                                  true,
-                                                                  false,
-                                                                  true, true,
-                                                                  false)),
-                                                                  (String
-                                                                  ((Ascii
-                                                                  (true,
-                                                                  true, true,
-                                                                  true,
-                                                                  false,
-                                                                  true, true,
-                                                                  false)),
-                                                                  (String
-                                                                  ((Ascii
-                                                                  (false,
-                                                                  true, true,
-                                                                  true,
-                                                                  false,
-                                                                  true, true,
-                                                                  false)),
-                                                                  (String
-                                                                  ((Ascii
-                                                                  (true,
-                                                                  true,
-                                                                  false,
-                                                                  false,
-                                                                  false,
-                                                                  false,
-                                                                  true,
-                                                                  false)),
-                                                                  (String
-                                                                  ((Ascii
-                                                                  (true,
-                                                                  true, true,
-                                                                  true,
-                                                                  false,
-                                                                  true, true,
-                                                                  false)),
-                                                                  (String
-                                                                  ((Ascii
-                                                                  (false,
-                                                                  false,
-                                                                  true,
-                                                                  false,
-                                                                  false,
-                                                                  true, true,
-                                                                  false)),
-                                                                  (String
-                                                                  ((Ascii
-                                                                  (true,
-                                                                  false,
-                                                                  true,
-                                                                  false,
-                                                                  false,
-                                                                  true, true,
-                                                                  false)),
-                                                                  (String
-                                                                  ((Ascii
-                                                                  (true,
-                                                                  true, true,
-                                                                  true,
-                                                                  false,
-                                                                  false,
-                                                                  true,
-                                                                  false)),
-                                                                  (String
-                                                                  ((Ascii
-                                                                  (false,
-                                                                  true,
-                                                                  false,
-                                                                  false,
-                                                                  true, true,
-                                                                  true,
-                                                                  false)),
-                                                                  (String
-                                                                  ((Ascii
-                                                                  (true,
-                                                                  false,
-                                                                  true,
-                                                                  false,
-                                                                  false,
-                                                                  false,
-                                                                  true,
-                                                                  false)),
-                                                                  (String
-                                                                  ((Ascii
-                                                                  (false,
-                                                                  false,
-                                                                  false,
-                                                                  true, true,
-                                                                  true, true,
-                                                                  false)),
-                                                                  (String
-                                                                  ((Ascii
-                                                                  (false,
-                                                                  false,
-                                                                  false,
-                                                                  false,
-                                                                  true, true,
-                                                                  true,
-                                                                  false)),
-                                                                  (String
-                                                                  ((Ascii
-                                                                  (true,
-                                                                  false,
-                                                                  false,
-                                                                  true,
-                                                                  false,
-                                                                  true, true,
-                                                                  false)),
-                                                                  (String
-                                                                  ((Ascii
-                                                                  (false,
-                                                                  true,
-                                                                  false,
-                                                                  false,
-                                                                  true, true,
-                                                                  true,
-                                                                  false)),
-                                                                  (String
-                                                                  ((Ascii
-                                                                  (true,
-                                                                  false,
-                                                                  true,
-                                                                  false,
-                                                                  false,
-                                                                  true, true,
-                                                                  false)),
-                                                                  (String
-                                                                  ((Ascii
-                                                                  (false,
-                                                                  false,
-                                                                  true,
-                                                                  false,
-                                                                  false,
-                                                                  false,
-                                                                  true,
-                                                                  false)),
-                                                                  (String
-                                                                  ((Ascii
-                                                                  (true,
-                                                                  false,
-                                                                  false,
-                                                                  false,
-                                                                  false,
-                                                                  true, true,
-                                                                  false)),
-                                                                  (String
-                                                                  ((Ascii
-                                                                  (false,
-                                                                  false,
-                                                                  true,
-                                                                  false,
-                                                                  true, true,
-                                                                  true,
-                                                                  false)),
-                                                                  (String
-                                                                  ((Ascii
-                                                                  (true,
-                                                                  false,
-                                                                  true,
-                                                                  false,
-                                                                  false,
-                                                                  true, true,
-                                                                  false)),
-                                                                  EmptyString))))))))))))))))))))))))))))))))))))))))))))))))))))))))))
-                                                                  ((String
-                                                                  ((Ascii
-                                                                  (true,
-                                                                  true,
-                                                                  false,
-                                                                  false,
-                                                                  true, true,
-                                                                  true,
-                                                                  false)),
-                                                                  (String
-                                                                  ((Ascii
-                                                                  (false,
-                                                                  false,
-                                                                  true,
-                                                                  false,
-                                                                  true, true,
-                                                                  true,
-                                                                  false)),
-                                                                  (String
-                                                                  ((Ascii
-                                                                  (false,
-                                                                  true,
-                                                                  false,
-                                                                  false,
-                                                                  true, true,
-                                                                  true,
-                                                                  false)),
-                                                                  (String
-                                                                  ((Ascii
-                                                                  (true,
-                                                                  false,
-                                                                  false,
-                                                                  true,
-                                                                  false,
-                                                                  true, true,
-                                                                  false)),
-                                                                  (String
-                                                                  ((Ascii
-                                                                  (false,
-                                                                  true, true,
-                                                                  true,
-                                                                  false,
-                                                                  true, true,
-                                                                  false)),
-                                                                  (String
-                                                                  ((Ascii
-                                                                  (true,
-                                                                  true, true,
-                                                                  false,
-                                                                  false,
-                                                                  true, true,
-                                                                  false)),
-                                                                  (String
-                                                                  ((Ascii
-                                                                  (true,
-                                                                  true,
-                                                                  false,
-                                                                  false,
-                                                                  true, true,
-                                                                  true,
-                                                                  false)),
-                                                                  (String
-                                                                  ((Ascii
-                                                                  (false,
-                                                                  true, true,
-                                                                  true,
-                                                                  false,
-                                                                  true,
-                                                                  false,
-                                                                  false)),
-                                                                  (String
-                                                                  ((Ascii
-                                                                  (false,
-                                                                  false,
-                                                                  true,
-                                                                  false,
-                                                                  true,
-                                                                  false,
-                                                                  true,
-                                                                  false)),
-                                                                  (String
-                                                                  ((Ascii
-                                                                  (false,
-                                                                  true,
-                                                                  false,
-                                                                  false,
-                                                                  true, true,
-                                                                  true,
-                                                                  false)),
-                                                                  (String
-                                                                  ((Ascii
-                                                                  (true,
-                                                                  false,
-                                                                  false,
-                                                                  true,
-                                                                  false,
-                                                                  true, true,
-                                                                  false)),
-                                                                  (String
-                                                                  ((Ascii
-                                                                  (true,
-                                                                  false,
-                                                                  true, true,
-                                                                  false,
-                                                                  true, true,
-                                                                  false)),
-                                                                  (String
-                                                                  ((Ascii
-                                                                  (true,
-                                                                  true,
-                                                                  false,
-                                                                  false,
-                                                                  true,
-                                                                  false,
-                                                                  true,
-                                                                  false)),
-                                                                  (String
-                                                                  ((Ascii
-                                                                  (false,
-                                                                  false,
-                                                                  false,
-                                                                  false,
-                                                                  true, true,
-                                                                  true,
-                                                                  false)),
-                                                                  (String
-                                                                  ((Ascii
-                                                                  (true,
-                                                                  false,
-                                                                  false,
-                                                                  false,
-                                                                  false,
-                                                                  true, true,
-                                                                  false)),
-                                                                  (String
-                                                                  ((Ascii
-                                                                  (true,
-                                                                  true,
-                                                                  false,
-                                                                  false,
-                                                                  false,
-                                                                  true, true,
-                                                                  false)),
-                                                                  (String
-                                                                  ((Ascii
-                                                                  (true,
-                                                                  false,
-                                                                  true,
-                                                                  false,
-                                                                  false,
-                                                                  true, true,
-                                                                  false)),
-                                                                  EmptyString)))))))))))))))))))))))))))))))))) :: [])) :: (
-    (mkcut (S (S (S (S (S (S (S (S (S (S (S (S (S (S (S (S (S (S (S (S (S (S
-      (S (S (S (S (S (S (S (S (S (S (S (S (S
-      O))))))))))))))))))))))))))))))))))) (S (S (S (S (S (S (S (S (S (S (S
-      (S (S (S (S (S (S (S (S (S (S (S (S (S (S (S (S (S (S (S (S (S (S (S (S
-      (S (S (S (S (S (S (S (S (S (S (S (S (S (S (S (S (S (S (S (S (S (S (S (S
-      (S (S (S
-      O)))))))))))))))))))))))))))))))))))))))))))))))))))))))))))))) (String
-      ((Ascii (false, false, true, false, true, false, true, false)), (String
-      ((Ascii (true, false, true, false, false, true, true, false)), (String
-      ((Ascii (false, true, false, false, true, true, true, false)), (String
-      ((Ascii (true, false, true, true, false, true, true, false)), (String
-      ((Ascii (true, false, false, true, false, true, true, false)), (String
-      ((Ascii (false, true, true, true, false, true, true, false)), (String
-      ((Ascii (true, false, false, false, false, true, true, false)), (String
-      ((Ascii (false, false, true, true, false, true, true, false)), (String
-      ((Ascii (false, false, true, true, false, false, true, false)), (String
-      ((Ascii (true, true, true, true, false, true, true, false)), (String
-      ((Ascii (true, true, false, false, false, true, true, false)), (String
-      ((Ascii (true, false, false, false, false, true, true, false)), (String
-      ((Ascii (false, false, true, false, true, true, true, false)), (String
-      ((Ascii (true, false, false, true, false, true, true, false)), (String
-      ((Ascii (true, true, true, true, false, true, true, false)), (String
-      ((Ascii (false, true, true, true, false, true, true, false)),
-      EmptyString)))))))))))))))))))))))))))))))) ((String ((Ascii (true,
-      true, false, false, true, true, true, false)), (String ((Ascii (false,
-      false, true, false, true, true, true, false)), (String ((Ascii (false,
-      true, false, false, true, true, true, false)), (String ((Ascii (true,
-      false, false, true, false, true, true, false)), (String ((Ascii (false,
-      true, true, true, false, true, true, false)), (String ((Ascii (true,
-      true, true, false, false, true, true, false)), (String ((Ascii (true,
-      true, false, false, true, true, true, false)), (String ((Ascii (false,
-      true, true, true, false, true, false, false)), (String ((Ascii (false,
-      false, true, false, true, false, true, false)), (String ((Ascii (false,
-      true, false, false, true, true, true, false)), (String ((Ascii (true,
-      false, false, true, false, true, true, false)), (String ((Ascii (true,
-      false, true, true, false, true, true, false)), (String ((Ascii (true,
-      true, false, false, true, false, true, false)), (String ((Ascii (false,
-      false, false, false, true, true, true, false)), (String ((Ascii (true,
-      false, false, false, false, true, true, false)), (String ((Ascii (true,
-      true, false, false, false, true, true, false)), (String ((Ascii (true,
-      false, true, false, false, true, true, false)),
-      EmptyString)))))))))))))))))))))))))))))))))) :: [])) :: ((mkcut (S (S
-                                                                  (S (S (S (S
-                                                                  (S (S (S (S
-                                                                  (S (S (S (S
-                                                                  (S (S (S (S
-                                                                  (S (S (S (S
-                                                                  (S (S (S (S
-                                                                  (S (S (S (S
-                                                                  (S (S (S (S
-                                                                  (S (S (S (S
-                                                                  (S (S (S (S
-                                                                  (S (S (S (S
-                                                                  (S (S (S (S
-                                                                  (S (S (S (S
-                                                                  (S (S (S (S
-                                                                  (S (S (S (S
-                                                                  O))))))))))))))))))))))))))))))))))))))))))))))))))))))))))))))
-                                                                  (S (S (S (S
-                                                                  (S (S (S (S
-                                                                  (S (S (S (S
-                                                                  (S (S (S (S
-                                                                  (S (S (S (S
-                                                                  (S (S (S (S
-                                                                  (S (S (S (S
-                                                                  (S (S (S (S
-                                                                  (S (S (S (S
-                                                                  (S (S (S (S
-                                                                  (S (S (S (S
-                                                                  (S (S (S (S
-                                                                  (S (S (S (S
-                                                                  (S (S (S (S
-                                                                  (S (S (S (S
-                                                                  (S (S (S (S
-                                                                  (S (S (S (S
-                                                                  (S (S (S (S
-                                                                  (S (S (S (S
-                                                                  (S
-                                                                  O)))))))))))))))))))))))))))))))))))))))))))))))))))))))))))))))))))))))))))))
-                                                                  (String
-                                                                  ((Ascii
-                                                                  (false,
-                                                                  false,
-                                                                  true,
-                                                                  false,
-                                                                  true,
-                                                                  false,
-                                                                  true,
-                                                                  false)),
-                                                                  (String
-                                                                  ((Ascii
-                                                                  (true,
-                                                                  false,
-                                                                  true,
-                                                                  false,
-                                                                  false,
-                                                                  true, true,
-                                                                  false)),
-                                                                  (String
-                                                                  ((Ascii
-                                                                  (false,
-                                                                  true,
-                                                                  false,
-                                                                  false,
-                                                                  true, true,
-                                                                  true,
-                                                                  false)),
-                                                                  (String
-                                                                  ((Ascii
-                                                                  (true,
-                                                                  false,
-                                                                  true, true,
-                                                                  false,
-                                                                  true, true,
-                                                                  false)),
-                                                                  (String
-                                                                  ((Ascii
-                                                                  (true,
-                                                                  false,
-                                                                  false,
-                                                                  true,
-                                                                  false,
-                                                                  true, true,
-                                                                  false)),
-                                                                  (String
-                                                                  ((Ascii
-                                                                  (false,
-                                                                  true, true,
-                                                                  true,
-                                                                  false,
-                                                                  true, true,
-                                                                  false)),
-                                                                  (String
-                                                                  ((Ascii
-                                                                  (true,
-                                                                  false,
-                                                                  false,
-                                                                  false,
-                                                                  false,
-                                                                  true, true,
-                                                                  false)),
-                                                                  (String
-                                                                  ((Ascii
-                                                                  (false,
-                                                                  false,
-                                                                  true, true,
-                                                                  false,
-                                                                  true, true,
-                                                                  false)),
-                                                                  (String
-                                                                  ((Ascii
-                                                                  (true,
-                                                                  true,
-                                                                  false,
-                                                                  false,
-                                                                  false,
-                                                                  false,
-                                                                  true,
-                                                                  false)),
-                                                                  (String
-                                                                  ((Ascii
-                                                                  (true,
-                                                                  false,
-                                                                  false,
-                                                                  true,
-                                                                  false,
-                                                                  true, true,
-                                                                  false)),
-                                                                  (String
-                                                                  ((Ascii
-                                                                  (false,
-                                                                  false,
-                                                                  true,
-                                                                  false,
-                                                                  true, true,
-                                                                  true,
-                                                                  false)),
-                                                                  (String
-                                                                  ((Ascii
-                                                                  (true,
-                                                                  false,
-                                                                  false,
-                                                                  true, true,
-                                                                  true, true,
-                                                                  false)),
-                                                                  EmptyString))))))))))))))))))))))))
-                                                                  ((String
-                                                                  ((Ascii
-                                                                  (true,
-                                                                  true,
-                                                                  false,
-                                                                  false,
-                                                                  true, true,
-                                                                  true,
-                                                                  false)),
-                                                                  (String
-                                                                  ((Ascii
-                                                                  (false,
-                                                                  false,
-                                                                  true,
-                                                                  false,
-                                                                  true, true,
-                                                                  true,
-                                                                  false)),
-                                                                  (String
-                                                                  ((Ascii
-                                                                  (false,
-                                                                  true,
-                                                                  false,
-                                                                  false,
-                                                                  true, true,
-                                                                  true,
-                                                                  false)),
-                                                                  (String
-                                                                  ((Ascii
-                                                                  (true,
-                                                                  false,
-                                                                  false,
-                                                                  true,
-                                                                  false,
-                                                                  true, true,
-                                                                  false)),
-                                                                  (String
-                                                                  ((Ascii
-                                                                  (false,
-                                                                  true, true,
-                                                                  true,
-                                                                  false,
-                                                                  true, true,
-                                                                  false)),
-                                                                  (String
-                                                                  ((Ascii
-                                                                  (true,
-                                                                  true, true,
-                                                                  false,
-                                                                  false,
-                                                                  true, true,
-                                                                  false)),
-                                                                  (String
-                                                                  ((Ascii
-                                                                  (true,
-                                                                  true,
-                                                                  false,
-                                                                  false,
-                                                                  true, true,
-                                                                  true,
-                                                                  false)),
-                                                                  (String
-                                                                  ((Ascii
-                                                                  (false,
-                                                                  true, true,
-                                                                  true,
-                                                                  false,
-                                                                  true,
-                                                                  false,
-                                                                  false)),
-                                                                  (String
-                                                                  ((Ascii
-                                                                  (false,
-                                                                  false,
-                                                                  true,
-                                                                  false,
-                                                                  true,
-                                                                  false,
-                                                                  true,
-                                                                  false)),
-                                                                  (String
-                                                                  ((Ascii
-                                                                  (false,
-                                                                  true,
-                                                                  false,
-                                                                  false,
-                                                                  true, true,
-                                                                  true,
-                                                                  false)),
-                                                                  (String
-                                                                  ((Ascii
-                                                                  (true,
-                                                                  false,
-                                                                  false,
-                                                                  true,
-                                                                  false,
-                                                                  true, true,
-                                                                  false)),
-                                                                  (String
-                                                                  ((Ascii
-                                                                  (true,
-                                                                  false,
-                                                                  true, true,
-                                                                  false,
-                                                                  true, true,
-                                                                  false)),
-                                                                  (String
-                                                                  ((Ascii
-                                                                  (true,
-                                                                  true,
-                                                                  false,
-                                                                  false,
-                                                                  true,
-                                                                  false,
-                                                                  true,
-                                                                  false)),
-                                                                  (String
-                                                                  ((Ascii
-                                                                  (false,
-                                                                  false,
-                                                                  false,
-                                                                  false,
-                                                                  true, true,
-                                                                  true,
-                                                                  false)),
-                                                                  (String
-                                                                  ((Ascii
-                                                                  (true,
-                                                                  false,
-                                                                  false,
-                                                                  false,
-                                                                  false,
-                                                                  true, true,
-                                                                  false)),
-                                                                  (String
-                                                                  ((Ascii
-                                                                  (true,
-                                                                  true,
-                                                                  false,
-                                                                  false,
-                                                                  false,
-                                                                  true, true,
-                                                                  false)),
-                                                                  (String
-                                                                  ((Ascii
-                                                                  (true,
-                                                                  false,
-                                                                  true,
-                                                                  false,
-                                                                  false,
-                                                                  true, true,
-                                                                  false)),
-                                                                  EmptyString)))))))))))))))))))))))))))))))))) :: [])) :: (
-    (mkcut (S (S (S (S (S (S (S (S (S (S (S (S (S (S (S (S (S (S (S (S (S (S
-      (S (S (S (S (S (S (S (S (S (S (S (S (S (S (S (S (S (S (S (S (S (S (S (S
-      (S (S (S (S (S (S (S (S (S (S (S (S (S (S (S (S (S (S (S (S (S (S (S (S
-      (S (S (S (S (S (S (S
-      O)))))))))))))))))))))))))))))))))))))))))))))))))))))))))))))))))))))))))))))
-      (S (S (S (S (S (S (S (S (S (S (S (S (S (S (S (S (S (S (S (S (S (S (S (S
-      (S (S (S (S (S (S (S (S (S (S (S (S (S (S (S (S (S (S (S (S (S (S (S (S
-      (S (S (S (S (S (S (S (S (S (S (S (S (S (S (S (S (S (S (S (S (S (S (S (S
-      (S (S (S (S (S (S (S
-      O)))))))))))))))))))))))))))))))))))))))))))))))))))))))))))))))))))))))))))))))
-      (String ((Ascii (false, false, true, false, true, false, true, false)),
-      (String ((Ascii (true, false, true, false, false, true, true, false)),
-      (String ((Ascii (false, true, false, false, true, true, true, false)),
-      (String ((Ascii (true, false, true, true, false, true, true, false)),
-      (String ((Ascii (true, false, false, true, false, true, true, false)),
-      (String ((Ascii (false, true, true, true, false, true, true, false)),
-      (String ((Ascii (true, false, false, false, false, true, true, false)),
-      (String ((Ascii (false, false, true, true, false, true, true, false)),
-      (String ((Ascii (true, true, false, false, true, false, true, false)),
-      (String ((Ascii (false, false, true, false, true, true, true, false)),
-      (String ((Ascii (true, false, false, false, false, true, true, false)),
-      (String ((Ascii (false, false, true, false, true, true, true, false)),
-      (String ((Ascii (true, false, true, false, false, true, true, false)),
-      EmptyString)))))))))))))))))))))))))) ((String ((Ascii (true, true,
-      false, false, true, true, true, false)), (String ((Ascii (false, false,
-      true, false, true, true, true, false)), (String ((Ascii (false, true,
-      false, false, true, true, true, false)), (String ((Ascii (true, false,
-      false, true, false, true, true, false)), (String ((Ascii (false, true,
-      true, true, false, true, true, false)), (String ((Ascii (true, true,
-      true, false, false, true, true, false)), (String ((Ascii (true, true,
-      false, false, true, true, true, false)), (String ((Ascii (false, true,
-      true, true, false, true, false, false)), (String ((Ascii (false, false,
-      true, false, true, false, true, false)), (String ((Ascii (false, true,
-      false, false, true, true, true, false)), (String ((Ascii (true, false,
-      false, true, false, true, true, false)), (String ((Ascii (true, false,
-      true, true, false, true, true, false)), (String ((Ascii (true, true,
-      false, false, true, false, true, false)), (String ((Ascii (false,
-      false, false, false, true, true, true, false)), (String ((Ascii (true,
-      false, false, false, false, true, true, false)), (String ((Ascii (true,
-      true, false, false, false, true, true, false)), (String ((Ascii (true,
-      false, true, false, false, true, true, false)),
-      EmptyString)))))))))))))))))))))))))))))))))) :: [])) :: ((mkcut (S (S
-                                                                  (S (S (S (S
-                                                                  (S (S (S (S
-                                                                  (S (S (S (S
-                                                                  (S (S (S (S
-                                                                  (S (S (S (S
-                                                                  (S (S (S (S
-                                                                  (S (S (S (S
-                                                                  (S (S (S (S
-                                                                  (S (S (S (S
-                                                                  (S (S (S (S
-                                                                  (S (S (S (S
-                                                                  (S (S (S (S
-                                                                  (S (S (S (S
-                                                                  (S (S (S (S
-                                                                  (S (S (S (S
-                                                                  (S (S (S (S
-                                                                  (S (S (S (S
-                                                                  (S (S (S (S
-                                                                  (S (S (S (S
-                                                                  (S
-                                                                  O)))))))))))))))))))))))))))))))))))))))))))))))))))))))))))))))))))))))))))))))
-                                                                  (S (S (S (S
-                                                                  (S (S (S (S
-                                                                  (S (S (S (S
-                                                                  (S (S (S (S
-                                                                  (S (S (S (S
-                                                                  (S (S (S (S
-                                                                  (S (S (S (S
-                                                                  (S (S (S (S
-                                                                  (S (S (S (S
-                                                                  (S (S (S (S
-                                                                  (S (S (S (S
-                                                                  (S (S (S (S
-                                                                  (S (S (S (S
-                                                                  (S (S (S (S
-                                                                  (S (S (S (S
-                                                                  (S (S (S (S
-                                                                  (S (S (S (S
-                                                                  (S (S (S (S
-                                                                  (S (S (S (S
-                                                                  (S (S (S (S
-                                                                  (S (S (S (S
-                                                                  (S (S (S (S
-                                                                  (S (S (S (S
-                                                                  (S (S
-                                                                  O))))))))))))))))))))))))))))))))))))))))))))))))))))))))))))))))))))))))))))))))))))))))))))))
-                                                                  (String
-                                                                  ((Ascii
-                                                                  (false,
-                                                                  false,
-                                                                  true,
-                                                                  false,
-                                                                  true,
-                                                                  false,
-                                                                  true,
-                                                                  false)),
-                                                                  (String
-                                                                  ((Ascii
-                                                                  (false,
-                                                                  true,
-                                                                  false,
-                                                                  false,
-                                                                  true, true,
-                                                                  true,
-                                                                  false)),
-                                                                  (String
-                                                                  ((Ascii
-                                                                  (true,
-                                                                  false,
-                                                                  false,
-                                                                  false,
-                                                                  false,
-                                                                  true, true,
-                                                                  false)),
-                                                                  (String
-                                                                  ((Ascii
-                                                                  (true,
-                                                                  true,
-                                                                  false,
-                                                                  false,
-                                                                  false,
-                                                                  true, true,
-                                                                  false)),
-                                                                  (String
-                                                                  ((Ascii
-                                                                  (true,
-                                                                  false,
-                                                                  true,
-                                                                  false,
-                                                                  false,
-                                                                  true, true,
-                                                                  false)),
-                                                                  (String
-                                                                  ((Ascii
-                                                                  (false,
-                                                                  true, true,
-                                                                  true,
-                                                                  false,
-                                                                  false,
-                                                                  true,
-                                                                  false)),
-                                                                  (String
-                                                                  ((Ascii
-                                                                  (true,
-                                                                  false,
-                                                                  true,
-                                                                  false,
-                                                                  true, true,
-                                                                  true,
-                                                                  false)),
-                                                                  (String
-                                                                  ((Ascii
-                                                                  (true,
-                                                                  false,
-                                                                  true, true,
-                                                                  false,
-                                                                  true, true,
-                                                                  false)),
-                                                                  (String
-                                                                  ((Ascii
-                                                                  (false,
-                                                                  true,
-                                                                  false,
-                                                                  false,
-                                                                  false,
-                                                                  true, true,
-                                                                  false)),
-                                                                  (String
-                                                                  ((Ascii
-                                                                  (true,
-                                                                  false,
-                                                                  true,
-                                                                  false,
-                                                                  false,
-                                                                  true, true,
-                                                                  false)),
-                                                                  (String
-                                                                  ((Ascii
-                                                                  (false,
-                                                                  true,
-                                                                  false,
-                                                                  false,
-                                                                  true, true,
-                                                                  true,
-                                                                  false)),
-                                                                  EmptyString))))))))))))))))))))))
-                                                                  ((String
-                                                                  ((Ascii
-                                                                  (true,
-                                                                  true,
-                                                                  false,
-                                                                  false,
-                                                                  true, true,
-                                                                  true,
-                                                                  false)),
-                                                                  (String
-                                                                  ((Ascii
-                                                                  (false,
-                                                                  false,
-                                                                  true,
-                                                                  false,
-                                                                  true, true,
-                                                                  true,
-                                                                  false)),
-                                                                  (String
-                                                                  ((Ascii
-                                                                  (false,
-                                                                  true,
-                                                                  false,
-                                                                  false,
-                                                                  true, true,
-                                                                  true,
-                                                                  false)),
-                                                                  (String
-                                                                  ((Ascii
-                                                                  (true,
-                                                                  false,
-                                                                  false,
-                                                                  true,
-                                                                  false,
-                                                                  true, true,
-                                                                  false)),
-                                                                  (String
-                                                                  ((Ascii
-                                                                  (false,
-                                                                  true, true,
-                                                                  true,
-                                                                  false,
-                                                                  true, true,
-                                                                  false)),
-                                                                  (String
-                                                                  ((Ascii
-                                                                  (true,
-                                                                  true, true,
-                                                                  false,
-                                                                  false,
-                                                                  true, true,
-                                                                  false)),
-                                                                  (String
-                                                                  ((Ascii
-                                                                  (true,
-                                                                  true,
-                                                                  false,
-                                                                  false,
-                                                                  true, true,
-                                                                  true,
-                                                                  false)),
-                                                                  (String
-                                                                  ((Ascii
-                                                                  (false,
-                                                                  true, true,
-                                                                  true,
-                                                                  false,
-                                                                  true,
-                                                                  false,
-                                                                  false)),
-                                                                  (String
-                                                                  ((Ascii
-                                                                  (false,
-                                                                  false,
-                                                                  true,
-                                                                  false,
-                                                                  true,
-                                                                  false,
-                                                                  true,
-                                                                  false)),
-                                                                  (String
-                                                                  ((Ascii
-                                                                  (false,
-                                                                  true,
-                                                                  false,
-                                                                  false,
-                                                                  true, true,
-                                                                  true,
-                                                                  false)),
-                                                                  (String
-                                                                  ((Ascii
-                                                                  (true,
-                                                                  false,
-                                                                  false,
-                                                                  true,
-                                                                  false,
-                                                                  true, true,
-                                                                  false)),
-                                                                  (String
-                                                                  ((Ascii
-                                                                  (true,
-                                                                  false,
-                                                                  true, true,
-                                                                  false,
-                                                                  true, true,
-                                                                  false)),
-                                                                  (String
-                                                                  ((Ascii
-                                                                  (true,
-                                                                  true,
-                                                                  false,
-                                                                  false,
-                                                                  true,
-                                                                  false,
-                                                                  true,
-                                                                  false)),
-                                                                  (String
-                                                                  ((Ascii
-                                                                  (false,
-                                                                  false,
-                                                                  false,
-                                                                  false,
-                                                                  true, true,
-                                                                  true,
-                                                                  false)),
-                                                                  (String
-                                                                  ((Ascii
-                                                                  (true,
-                                                                  false,
-                                                                  false,
-                                                                  false,
-                                                                  false,
-                                                                  true, true,
-                                                                  false)),
-                                                                  (String
-                                                                  ((Ascii
-                                                                  (true,
-                                                                  true,
-                                                                  false,
-                                                                  false,
-                                                                  false,
-                                                                  true, true,
-                                                                  false)),
-                                                                  (String
-                                                                  ((Ascii
-                                                                  (true,
-                                                                  false,
-                                                                  true,
-                                                                  false,
-                                                                  false,
-                                                                  true, true,
-                                                                  false)),
-                                                                  EmptyString)))))))))))))))))))))))))))))))))) :: [])) :: [])))))))))))) }
+type rtag =
+| THdr
+| TBody
+| TCtl
 
-(** val l_Addenda05 : layout **)
+(** val tag_handler : wpolicy -> rtag -> handler **)
 
-let l_Addenda05 =
-  { l_name = (String ((Ascii (true, false, false, false, false, false, true,
-    false)), (String ((Ascii (false, false, true, false, false, true, true,
-    false)), (String ((Ascii (false, false, true, false, false, true, true,
-    false)), (String ((Ascii (true, false, true, false, false, true, true,
-    false)), (String ((Ascii (false, true, true, true, false, true, true,
-    false)), (String ((Ascii (false, false, true, false, false, true, true,
-    false)), (String ((Ascii (true, false, false, false, false, true, true,
-    false)), (String ((Ascii (false, false, false, false, true, true, false,
-    false)), (String ((Ascii (true, false, true, false, true, true, false,
-    false)), EmptyString)))))))))))))))))); l_ix = IRune; l_segs = ((SLit
-    ((Npos (XI (XI (XI (XO (XI XH)))))) :: [])) :: ((SRaw (String ((Ascii
-    (false, false, true, false, true, false, true, false)), (String ((Ascii
-    (true, false, false, true, true, true, true, false)), (String ((Ascii
-    (false, false, false, false, true, true, true, false)), (String ((Ascii
-    (true, false, true, false, false, true, true, false)), (String ((Ascii
-    (true, true, false, false, false, false, true, false)), (String ((Ascii
-    (true, true, true, true, false, true, true, false)), (String ((Ascii
-    (false, false, true, false, false, true, true, false)), (String ((Ascii
-    (true, false, true, false, false, true, true, false)),
-    EmptyString))))))))))))))))) :: ((SAlpha ((String ((Ascii (false, false,
-    false, false, true, false, true, false)), (String ((Ascii (true, false,
-    false, false, false, true, true, false)), (String ((Ascii (true, false,
-    false, true, true, true, true, false)), (String ((Ascii (true, false,
-    true, true, false, true, true, false)), (String ((Ascii (true, false,
-    true, false, false, true, true, false)), (String ((Ascii (false, true,
-    true, true, false, true, true, false)), (String ((Ascii (false, false,
-    true, false, true, true, true, false)), (String ((Ascii (false, true,
-    false, false, true, false, true, false)), (String ((Ascii (true, false,
-    true, false, false, true, true, false)), (String ((Ascii (false, false,
-    true, true, false, true, true, false)), (String ((Ascii (true, false,
-    false, false, false, true, true, false)), (String ((Ascii (false, false,
-    true, false, true, true, true, false)), (String ((Ascii (true, false,
-    true, false, false, true, true, false)), (String ((Ascii (false, false,
-    true, false, false, true, true, false)), (String ((Ascii (true, false,
-    false, true, false, false, true, false)), (String ((Ascii (false, true,
-    true, true, false, true, true, false)), (String ((Ascii (false, true,
-    true, false, false, true, true, false)), (String ((Ascii (true, true,
-    true, true, false, true, true, false)), (String ((Ascii (false, true,
-    false, false, true, true, true, false)), (String ((Ascii (true, false,
-    true, true, false, true, true, false)), (String ((Ascii (true, false,
-    false, false, false, true, true, false)), (String ((Ascii (false, false,
-    true, false, true, true, true, false)), (String ((Ascii (true, false,
-    false, true, false, true, true, false)), (String ((Ascii (true, true,
-    true, true, false, true, true, false)), (String ((Ascii (false, true,
-    true, true, false, true, true, false)),
-    EmptyString)))))))))))))))))))))))))))))))))))))))))))))))))), (S (S (S
+let tag_handler p = function
+| THdr -> p.p_hdr
+| TBody -> p.p_body
+| TCtl -> p.p_ctl
+
+(** val nonempty : bytes -> bool **)
+
+let nonempty = function
+| [] -> false
+| _ :: _ -> true
+
+(** val write_line :
+    wpolicy -> bytes -> (bw * n) -> bytes -> (bw * n) * werr option **)
+
+let write_line p le st line =
+  let (b, n0) = st in
+  if negb (nonempty line)
+  then (st, None)
+  else let (b1, e1) = bw_write b line in
+       (match on_err p.p_wl_line e1 with
+        | Cont ->
+          let (b2, e2) = bw_write b1 le in
+          (match on_err p.p_wl_le e2 with
+           | Cont ->
+             if N.ltb (avail b2) p.p_thresh
+             then (match p.p_wl_flush with
+                   | Propagate ->
+                     let (b3, e3) = api_flush p b2 in
+                     ((b3, (N.add n0 (Npos XH))), e3)
+                   | Absent -> ((b2, (N.add n0 (Npos XH))), None)
+                   | _ ->
+                     let (b3, _) = api_flush p b2 in
+                     ((b3, (N.add n0 (Npos XH))), None))
+             else ((b2, (N.add n0 (Npos XH))), None)
+           | Ret r -> ((b2, n0), r))
+        | Ret r -> ((b1, n0), r))
+
+(** val write_recs :
+    wpolicy -> bytes -> (bw * n) -> (rtag * bytes) list -> (bw * n) * act **)
+
+let rec write_recs p le st = function
+| [] -> (st, Cont)
+| p0 :: rest ->
+  let (t, l) = p0 in
+  let (st1, e) = write_line p le st l in
+  (match on_err (tag_handler p t) e with
+   | Cont -> write_recs p le st1 rest
+   | Ret r -> (st1, (Ret r)))
+
+(** val nines : bytes **)
+
+let nines =
+  repeat nine (S (S (S (S (S (S (S (S (S (S (S (S (S (S (S (S (S (S (S (S (S
     (S (S (S (S (S (S (S (S (S (S (S (S (S (S (S (S (S (S (S (S (S (S (S (S
     (S (S (S (S (S (S (S (S (S (S (S (S (S (S (S (S (S (S (S (S (S (S (S (S
     (S (S (S (S (S (S (S (S (S (S (S (S (S (S (S (S (S (S (S (S (S (S (S (S
-    (S (S (S (S (S
-    O)))))))))))))))))))))))))))))))))))))))))))))))))))))))))))))))))))))))))))))))))) :: ((SNum
-    ((String ((Ascii (true, true, false, false, true, false, true, false)),
-    (String ((Ascii (true, false, true, false, false, true, true, false)),
-    (String ((Ascii (true, false, false, false, true, true, true, false)),
-    (String ((Ascii (true, false, true, false, true, true, true, false)),
-    (String ((Ascii (true, false, true, false, false, true, true, false)),
-    (String ((Ascii (false, true, true, true, false, true, true, false)),
-    (String ((Ascii (true, true, false, false, false, true, true, false)),
-    (String ((Ascii (true, false, true, false, false, true, true, false)),
-    (String ((Ascii (false, true, true, true, false, false, true, false)),
-    (String ((Ascii (true, false, true, false, true, true, true, false)),
-    (String ((Ascii (true, false, true, true, false, true, true, false)),
-    (String ((Ascii (false, true, false, false, false, true, true, false)),
-    (String ((Ascii (true, false, true, false, false, true, true, false)),
-    (String ((Ascii (false, true, false, false, true, true, true, false)),
-    EmptyString)))))))))))))))))))))))))))), (S (S (S (S O)))))) :: ((SNum
-    ((String ((Ascii (true, false, true, false, false, false, true, false)),
-    (String ((Ascii (false, true, true, true, false, true, true, false)),
-    (String ((Ascii (false, false, true, false, true, true, true, false)),
-    (String ((Ascii (false, true, false, false, true, true, true, false)),
-    (String ((Ascii (true, false, false, true, true, true, true, false)),
-    (String ((Ascii (false, false, true, false, false, false, true, false)),
-    (String ((Ascii (true, false, true, false, false, true, true, false)),
-    (String ((Ascii (false, false, true, false, true, true, true, false)),
-    (String ((Ascii (true, false, false, false, false, true, true, false)),
-    (String ((Ascii (true, false, false, true, false, true, true, false)),
-    (String ((Ascii (false, false, true, true, false, true, true, false)),
-    (String ((Ascii (true, true, false, false, true, false, true, false)),
-    (String ((Ascii (true, false, true, false, false, true, true, false)),
-    (String ((Ascii (true, false, false, false, true, true, true, false)),
-    (String ((Ascii (true, false, true, false, true, true, true, false)),
-    (String ((Ascii (true, false, true, false, false, true, true, false)),
-    (String ((Ascii (false, true, true, true, false, true, true, false)),
-    (String ((Ascii (true, true, false, false, false, true, true, false)),
-    (String ((Ascii (true, false, true, false, false, true, true, false)),
-    (String ((Ascii (false, true, true, true, false, false, true, false)),
-    (String ((Ascii (true, false, true, false, true, true, true, false)),
-    (String ((Ascii (true, false, true, true, false, true, true, false)),
-    (String ((Ascii (false, true, false, false, false, true, true, false)),
-    (String ((Ascii (true, false, true, false, false, true, true, false)),
-    (String ((Ascii (false, true, false, false, true, true, true, false)),
-    EmptyString)))))))))))))))))))))))))))))))))))))))))))))))))), (S (S (S
-    (S (S (S (S O))))))))) :: []))))); l_cuts =
-    ((mkcut O (S O) EmptyString []) :: ((mkcut (S O) (S (S (S O))) (String
-                                          ((Ascii (false, false, true, false,
-                                          true, false, true, false)), (String
-                                          ((Ascii (true, false, false, true,
-                                          true, true, true, false)), (String
-                                          ((Ascii (false, false, false,
-                                          false, true, true, true, false)),
-                                          (String ((Ascii (true, false, true,
-                                          false, false, true, true, false)),
-                                          (String ((Ascii (true, true, false,
-                                          false, false, false, true, false)),
-                                          (String ((Ascii (true, true, true,
-                                          true, false, true, true, false)),
-                                          (String ((Ascii (false, false,
-                                          true, false, false, true, true,
-                                          false)), (String ((Ascii (true,
-                                          false, true, false, false, true,
-                                          true, false)),
-                                          EmptyString)))))))))))))))) []) :: (
-    (mkcut (S (S (S O))) (S (S (S (S (S (S (S (S (S (S (S (S (S (S (S (S (S
-      (S (S (S (S (S (S (S (S (S (S (S (S (S (S (S (S (S (S (S (S (S (S (S (S
-      (S (S (S (S (S (S (S (S (S (S (S (S (S (S (S (S (S (S (S (S (S (S (S (S
-      (S (S (S (S (S (S (S (S (S (S (S (S (S (S (S (S (S (S
-      O)))))))))))))))))))))))))))))))))))))))))))))))))))))))))))))))))))))))))))))))))))
-      (String ((Ascii (false, false, false, false, true, false, true,
-      false)), (String ((Ascii (true, false, false, false, false, true, true,
-      false)), (String ((Ascii (true, false, false, true, true, true, true,
-      false)), (String ((Ascii (true, false, true, true, false, true, true,
-      false)), (String ((Ascii (true, false, true, false, false, true, true,
-      false)), (String ((Ascii (false, true, true, true, false, true, true,
-      false)), (String ((Ascii (false, false, true, false, true, true, true,
-      false)), (String ((Ascii (false, true, false, false, true, false, true,
-      false)), (String ((Ascii (true, false, true, false, false, true, true,
-      false)), (String ((Ascii (false, false, true, true, false, true, true,
-      false)), (String ((Ascii (true, false, false, false, false, true, true,
-      false)), (String ((Ascii (false, false, true, false, true, true, true,
-      false)), (String ((Ascii (true, false, true, false, false, true, true,
-      false)), (String ((Ascii (false, false, true, false, false, true, true,
-      false)), (String ((Ascii (true, false, false, true, false, false, true,
-      false)), (String ((Ascii (false, true, true, true, false, true, true,
-      false)), (String ((Ascii (false, true, true, false, false, true, true,
-      false)), (String ((Ascii (true, true, true, true, false, true, true,
-      false)), (String ((Ascii (false, true, false, false, true, true, true,
-      false)), (String ((Ascii (true, false, true, true, false, true, true,
-      false)), (String ((Ascii (true, false, false, false, false, true, true,
-      false)), (String ((Ascii (false, false, true, false, true, true, true,
-      false)), (String ((Ascii (true, false, false, true, false, true, true,
-      false)), (String ((Ascii (true, true, true, true, false, true, true,
-      false)), (String ((Ascii (false, true, true, true, false, true, true,
-      false)), EmptyString))))))))))))))))))))))))))))))))))))))))))))))))))
-      ((String ((Ascii (true, true, false, false, true, true, true, false)),
-      (String ((Ascii (false, false, true, false, true, true, true, false)),
-      (String ((Ascii (false, true, false, false, true, true, true, false)),
-      (String ((Ascii (true, false, false, true, false, true, true, false)),
-      (String ((Ascii (false, true, true, true, false, true, true, false)),
-      (String ((Ascii (true, true, true, false, false, true, true, false)),
-      (String ((Ascii (true, true, false, false, true, true, true, false)),
-      (String ((Ascii (false, true, true, true, false, true, false, false)),
-      (String ((Ascii (false, false, true, false, true, false, true, false)),
-      (String ((Ascii (false, true, false, false, true, true, true, false)),
-      (String ((Ascii (true, false, false, true, false, true, true, false)),
-      (String ((Ascii (true, false, true, true, false, true, true, false)),
-      (String ((Ascii (true, true, false, false, true, false, true, false)),
-      (String ((Ascii (false, false, false, false, true, true, true, false)),
-      (String ((Ascii (true, false, false, false, false, true, true, false)),
-      (String ((Ascii (true, true, false, false, false, true, true, false)),
-      (String ((Ascii (true, false, true, false, false, true, true, false)),
-      EmptyString)))))))))))))))))))))))))))))))))) :: [])) :: ((mkcut (S (S
-                                                                  (S (S (S (S
-                                                                  (S (S (S (S
-                                                                  (S (S (S (S
-                                                                  (S (S (S (S
-                                                                  (S (S (S (S
-                                                                  (S (S (S (S
-                                                                  (S (S (S (S
-                                                                  (S (S (S (S
-                                                                  (S (S (S (S
-                                                                  (S (S (S (S
-                                                                  (S (S (S (S
-                                                                  (S (S (S (S
-                                                                  (S (S (S (S
-                                                                  (S (S (S (S
-                                                                  (S (S (S (S
-                                                                  (S (S (S (S
-                                                                  (S (S (S (S
-                                                                  (S (S (S (S
-                                                                  (S (S (S (S
-                                                                  (S (S (S (S
-                                                                  (S
-                                                                  O)))))))))))))))))))))))))))))))))))))))))))))))))))))))))))))))))))))))))))))))))))
-                                                                  (S (S (S (S
-                                                                  (S (S (S (S
-                                                                  (S (S (S (S
-                                                                  (S (S (S (S
-                                                                  (S (S (S (S
-                                                                  (S (S (S (S
-                                                                  (S (S (S (S
-                                                                  (S (S (S (S
-                                                                  (S (S (S (S
-                                                                  (S (S (S (S
-                                                                  (S (S (S (S
-                                                                  (S (S (S (S
-                                                                  (S (S (S (S
-                                                                  (S (S (S (S
-                                                                  (S (S (S (S
-                                                                  (S (S (S (S
-                                                                  (S (S (S (S
-                                                                  (S (S (S (S
-                                                                  (S (S (S (S
-                                                                  (S (S (S (S
-                                                                  (S (S (S (S
-                                                                  (S (S (S
-                                                                  O)))))))))))))))))))))))))))))))))))))))))))))))))))))))))))))))))))))))))))))))))))))))
-                                                                  (String
-                                                                  ((Ascii
-                                                                  (true,
-                                                                  true,
-                                                                  false,
-                                                                  false,
-                                                                  true,
-                                                                  false,
-                                                                  true,
-                                                                  false)),
-                                                                  (String
-                                                                  ((Ascii
-                                                                  (true,
-                                                                  false,
-                                                                  true,
-                                                                  false,
-                                                                  false,
-                                                                  true, true,
-                                                                  false)),
-                                                                  (String
-                                                                  ((Ascii
-                                                                  (true,
-                                                                  false,
-                                                                  false,
-                                                                  false,
-                                                                  true, true,
-                                                                  true,
-                                                                  false)),
-                                                                  (String
-                                                                  ((Ascii
-                                                                  (true,
-                                                                  false,
-                                                                  true,
-                                                                  false,
-                                                                  true, true,
-                                                                  true,
-                                                                  false)),
-                                                                  (String
-                                                                  ((Ascii
-                                                                  (true,
-                                                                  false,
-                                                                  true,
-                                                                  false,
-                                                                  false,
-                                                                  true, true,
-                                                                  false)),
-                                                                  (String
-                                                                  ((Ascii
-                                                                  (false,
-                                                                  true, true,
-                                                                  true,
-                                                                  false,
-                                                                  true, true,
-                                                                  false)),
-                                                                  (String
-                                                                  ((Ascii
-                                                                  (true,
-                                                                  true,
-                                                                  false,
-                                                                  false,
-                                                                  false,
-                                                                  true, true,
-                                                                  false)),
-                                                                  (String
-                                                                  ((Ascii
-                                                                  (true,
-                                                                  false,
-                                                                  true,
-                                                                  false,
-                                                                  false,
-                                                                  true, true,
-                                                                  false)),
-                                                                  (String
-                                                                  ((Ascii
-                                                                  (false,
-                                                                  true, true,
-                                                                  true,
-                                                                  false,
-                                                                  false,
-                                                                  true,
-                                                                  false)),
-                                                                  (String
-                                                                  ((Ascii
-                                                                  (true,
-                                                                  false,
-                                                                  true,
-                                                                  false,
-                                                                  true, true,
-                                                                  true,
-                                                                  false)),
-                                                                  (String
-                                                                  ((Ascii
-                                                                  (true,
-                                                                  false,
-                                                                  true, true,
-                                                                  false,
-                                                                  true, true,
-                                                                  false)),
-                                                                  (String
-                                                                  ((Ascii
-                                                                  (false,
-                                                                  true,
-                                                                  false,
-                                                                  false,
-                                                                  false,
-                                                                  true, true,
-                                                                  false)),
-                                                                  (String
-                                                                  ((Ascii
-                                                                  (true,
-                                                                  false,
-                                                                  true,
-                                                                  false,
-                                                                  false,
-                                                                  true, true,
-                                                                  false)),
-                                                                  (String
-                                                                  ((Ascii
-                                                                  (false,
-                                                                  true,
-                                                                  false,
-                                                                  false,
-                                                                  true, true,
-                                                                  true,
-                                                                  false)),
-                                                                  EmptyString))))))))))))))))))))))))))))
-                                                                  ((String
-                                                                  ((Ascii
-                                                                  (false,
-                                                                  false,
-                                                                  false,
-                                                                  false,
-                                                                  true, true,
-                                                                  true,
-                                                                  false)),
-                                                                  (String
-                                                                  ((Ascii
-                                                                  (true,
-                                                                  false,
-                                                                  false,
-                                                                  false,
-                                                                  false,
-                                                                  true, true,
-                                                                  false)),
-                                                                  (String
-                                                                  ((Ascii
-                                                                  (false,
-                                                                  true,
-                                                                  false,
-                                                                  false,
-                                                                  true, true,
-                                                                  true,
-                                                                  false)),
-                                                                  (String
-                                                                  ((Ascii
-                                                                  (true,
-                                                                  true,
-                                                                  false,
-                                                                  false,
-                                                                  true, true,
-                                                                  true,
-                                                                  false)),
-                                                                  (String
-                                                                  ((Ascii
-                                                                  (true,
-                                                                  false,
-                                                                  true,
-                                                                  false,
-                                                                  false,
-                                                                  true, true,
-                                                                  false)),
-                                                                  (String
-                                                                  ((Ascii
-                                                                  (false,
-                                                                  true, true,
-                                                                  true,
-                                                                  false,
-                                                                  false,
-                                                                  true,
-                                                                  false)),
-                                                                  (String
-                                                                  ((Ascii
-                                                                  (true,
-                                                                  false,
-                                                                  true,
-                                                                  false,
-                                                                  true, true,
-                                                                  true,
-                                                                  false)),
-                                                                  (String
-                                                                  ((Ascii
-                                                                  (true,
-                                                                  false,
-                                                                  true, true,
-                                                                  false,
-                                                                  true, true,
-                                                                  false)),
-                                                                  (String
-                                                                  ((Ascii
-                                                                  (false,
-                                                                  true, true,
-                                                                  false,
-                                                                  false,
-                                                                  false,
-                                                                  true,
-                                                                  false)),
-                                                                  (String
-                                                                  ((Ascii
-                                                                  (true,
-                                                                  false,
-                                                                  false,
-                                                                  true,
-                                                                  false,
-                                                                  true, true,
-                                                                  false)),
-                                                                  (String
-                                                                  ((Ascii
-                                                                  (true,
-                                                                  false,
-                                                                  true,
-                                                                  false,
-                                                                  false,
-                                                                  true, true,
-                                                                  false)),
-                                                                  (String
-                                                                  ((Ascii
-                                                                  (false,
-                                                                  false,
-                                                                  true, true,
-                                                                  false,
-                                                                  true, true,
-                                                                  false)),
-                                                                  (String
-                                                                  ((Ascii
-                                                                  (false,
-                                                                  false,
-                                                                  true,
-                                                                  false,
-                                                                  false,
-                                                                  true, true,
-                                                                  false)),
-                                                                  EmptyString)))))))))))))))))))))))))) :: [])) :: (
-    (mkcut (S (S (S (S (S (S (S (S (S (S (S (S (S (S (S (S (S (S (S (S (S (S
-      (S (S (S (S (S (S (S (S (S (S (S (S (S (S (S (S (S (S (S (S (S (S (S (S
-      (S (S (S (S (S (S (S (S (S (S (S (S (S (S (S (S (S (S (S (S (S (S (S (S
-      (S (S (S (S (S (S (S (S (S (S (S (S (S (S (S (S (S
-      O)))))))))))))))))))))))))))))))))))))))))))))))))))))))))))))))))))))))))))))))))))))))
-      (S (S (S (S (S (S (S (S (S (S (S (S (S (S (S (S (S (S (S (S (S (S (S (S
-      (S (S (S (S (S (S (S (S (S (S (S (S (S (S (S (S (S (S (S (S (S (S (S (S
-      (S (S (S (S (S (S (S (S (S (S (S (S (S (S (S (S (S (S (S (S (S (S (S (S
-      (S (S (S (S (S (S (S (S (S (S (S (S (S (S (S (S (S (S (S (S (S (S
-      O))))))))))))))))))))))))))))))))))))))))))))))))))))))))))))))))))))))))))))))))))))))))))))))
-      (String ((Ascii (true, false, true, false, false, false, true, false)),
-      (String ((Ascii (false, true, true, true, false, true, true, false)),
-      (String ((Ascii (false, false, true, false, true, true, true, false)),
-      (String ((Ascii (false, true, false, false, true, true, true, false)),
-      (String ((Ascii (true, false, false, true, true, true, true, false)),
-      (String ((Ascii (false, false, true, false, false, false, true,
-      false)), (String ((Ascii (true, false, true, false, false, true, true,
-      false)), (String ((Ascii (false, false, true, false, true, true, true,
-      false)), (String ((Ascii (true, false, false, false, false, true, true,
-      false)), (String ((Ascii (true, false, false, true, false, true, true,
-      false)), (String ((Ascii (false, false, true, true, false, true, true,
-      false)), (String ((Ascii (true, true, false, false, true, false, true,
-      false)), (String ((Ascii (true, false, true, false, false, true, true,
-      false)), (String ((Ascii (true, false, false, false, true, true, true,
-      false)), (String ((Ascii (true, false, true, false, true, true, true,
-      false)), (String ((Ascii (true, false, true, false, false, true, true,
-      false)), (String ((Ascii (false, true, true, true, false, true, true,
-      false)), (String ((Ascii (true, true, false, false, false, true, true,
-      false)), (String ((Ascii (true, false, true, false, false, true, true,
-      false)), (String ((Ascii (false, true, true, true, false, false, true,
-      false)), (String ((Ascii (true, false, true, false, true, true, true,
-      false)), (String ((Ascii (true, false, true, true, false, true, true,
-      false)), (String ((Ascii (false, true, false, false, false, true, true,
-      false)), (String ((Ascii (true, false, true, false, false, true, true,
-      false)), (String ((Ascii (false, true, false, false, true, true, true,
-      false)), EmptyString))))))))))))))))))))))))))))))))))))))))))))))))))
-      ((String ((Ascii (false, false, false, false, true, true, true,
-      false)), (String ((Ascii (true, false, false, false, false, true, true,
-      false)), (String ((Ascii (false, true, false, false, true, true, true,
-      false)), (String ((Ascii (true, true, false, false, true, true, true,
-      false)), (String ((Ascii (true, false, true, false, false, true, true,
-      false)), (String ((Ascii (false, true, true, true, false, false, true,
-      false)), (String ((Ascii (true, false, true, false, true, true, true,
-      false)), (String ((Ascii (true, false, true, true, false, true, true,
-      false)), (String ((Ascii (false, true, true, false, false, false, true,
-      false)), (String ((Ascii (true, false, false, true, false, true, true,
-      false)), (String ((Ascii (true, false, true, false, false, true, true,
-      false)), (String ((Ascii (false, false, true, true, false, true, true,
-      false)), (String ((Ascii (false, false, true, false, false, true, true,
-      false)), EmptyString)))))))))))))))))))))))))) :: [])) :: []))))) }
+    (S
+    O))))))))))))))))))))))))))))))))))))))))))))))))))))))))))))))))))))))))))))))))))))))))))))))
 
-(** val l_Addenda10 : layout **)
+(** val pad_count : n -> nat **)
 
-let l_Addenda10 =
-  { l_name = (String ((Ascii (true, false, false, false, false, false, true,
-    false)), (String ((Ascii (false, false, true, false, false, true, true,
-    false)), (String ((Ascii (false, false, true, false, false, true, true,
-    false)), (String ((Ascii (true, false, true, false, false, true, true,
-    false)), (String ((Ascii (false, true, true, true, false, true, true,
-    false)), (String ((Ascii (false, false, true, false, false, true, true,
-    false)), (String ((Ascii (true, false, false, false, false, true, true,
-    false)), (String ((Ascii (true, false, false, false, true, true, false,
-    false)), (String ((Ascii (false, false, false, false, true, true, false,
-    false)), EmptyString)))))))))))))))))); l_ix = IRune; l_segs = ((SLit
-    ((Npos (XI (XI (XI (XO (XI XH)))))) :: [])) :: ((SRaw (String ((Ascii
-    (false, false, true, false, true, false, true, false)), (String ((Ascii
-    (true, false, false, true, true, true, true, false)), (String ((Ascii
-    (false, false, false, false, true, true, true, false)), (String ((Ascii
-    (true, false, true, false, false, true, true, false)), (String ((Ascii
-    (true, true, false, false, false, false, true, false)), (String ((Ascii
-    (true, true, true, true, false, true, true, false)), (String ((Ascii
-    (false, false, true, false, false, true, true, false)), (String ((Ascii
-    (true, false, true, false, false, true, true, false)),
-    EmptyString))))))))))))))))) :: ((SRaw (String ((Ascii (false, false,
-    true, false, true, false, true, false)), (String ((Ascii (false, true,
-    false, false, true, true, true, false)), (String ((Ascii (true, false,
-    false, false, false, true, true, false)), (String ((Ascii (false, true,
-    true, true, false, true, true, false)), (String ((Ascii (true, true,
-    false, false, true, true, true, false)), (String ((Ascii (true, false,
-    false, false, false, true, true, false)), (String ((Ascii (true, true,
-    false, false, false, true, true, false)), (String ((Ascii (false, false,
-    true, false, true, true, true, false)), (String ((Ascii (true, false,
-    false, true, false, true, true, false)), (String ((Ascii (true, true,
-    true, true, false, true, true, false)), (String ((Ascii (false, true,
-    true, true, false, true, true, false)), (String ((Ascii (false, false,
-    true, false, true, false, true, false)), (String ((Ascii (true, false,
-    false, true, true, true, true, false)), (String ((Ascii (false, false,
-    false, false, true, true, true, false)), (String ((Ascii (true, false,
-    true, false, false, true, true, false)), (String ((Ascii (true, true,
-    false, false, false, false, true, false)), (String ((Ascii (true, true,
-    true, true, false, true, true, false)), (String ((Ascii (false, false,
-    true, false, false, true, true, false)), (String ((Ascii (true, false,
-    true, false, false, true, true, false)),
-    EmptyString))))))))))))))))))))))))))))))))))))))) :: ((SNum ((String
-    ((Ascii (false, true, true, false, false, false, true, false)), (String
-    ((Ascii (true, true, true, true, false, true, true, false)), (String
-    ((Ascii (false, true, false, false, true, true, true, false)), (String
-    ((Ascii (true, false, true, false, false, true, true, false)), (String
-    ((Ascii (true, false, false, true, false, true, true, false)), (String
-    ((Ascii (true, true, true, false, false, true, true, false)), (String
-    ((Ascii (false, true, true, true, false, true, true, false)), (String
-    ((Ascii (false, false, false, false, true, false, true, false)), (String
-    ((Ascii (true, false, false, false, false, true, true, false)), (String
-    ((Ascii (true, false, false, true, true, true, true, false)), (String
-    ((Ascii (true, false, true, true, false, true, true, false)), (String
-    ((Ascii (true, false, true, false, false, true, true, false)), (String
-    ((Ascii (false, true, true, true, false, true, true, false)), (String
-    ((Ascii (false, false, true, false, true, true, true, false)), (String
-    ((Ascii (true, false, false, false, false, false, true, false)), (String
-    ((Ascii (true, false, true, true, false, true, true, false)), (String
-    ((Ascii (true, true, true, true, false, true, true, false)), (String
-    ((Ascii (true, false, true, false, true, true, true, false)), (String
-    ((Ascii (false, true, true, true, false, true, true, false)), (String
-    ((Ascii (false, false, true, false, true, true, true, false)),
-    EmptyString)))))))))))))))))))))))))))))))))))))))), (S (S (S (S (S (S (S
-    (S (S (S (S (S (S (S (S (S (S (S O)))))))))))))))))))) :: ((SAlpha
-    ((String ((Ascii (false, true, true, false, false, false, true, false)),
-    (String ((Ascii (true, true, true, true, false, true, true, false)),
-    (String ((Ascii (false, true, false, false, true, true, true, false)),
-    (String ((Ascii (true, false, true, false, false, true, true, false)),
-    (String ((Ascii (true, false, false, true, false, true, true, false)),
-    (String ((Ascii (true, true, true, false, false, true, true, false)),
-    (String ((Ascii (false, true, true, true, false, true, true, false)),
-    (String ((Ascii (false, false, true, false, true, false, true, false)),
-    (String ((Ascii (false, true, false, false, true, true, true, false)),
-    (String ((Ascii (true, false, false, false, false, true, true, false)),
-    (String ((Ascii (true, true, false, false, false, true, true, false)),
-    (String ((Ascii (true, false, true, false, false, true, true, false)),
-    (String ((Ascii (false, true, true, true, false, false, true, false)),
-    (String ((Ascii (true, false, true, false, true, true, true, false)),
-    (String ((Ascii (true, false, true, true, false, true, true, false)),
-    (String ((Ascii (false, true, false, false, false, true, true, false)),
-    (String ((Ascii (true, false, true, false, false, true, true, false)),
-    (String ((Ascii (false, true, false, false, true, true, true, false)),
-    EmptyString)))))))))))))))))))))))))))))))))))), (S (S (S (S (S (S (S (S
-    (S (S (S (S (S (S (S (S (S (S (S (S (S (S
-    O)))))))))))))))))))))))) :: ((SAlpha ((String ((Ascii (false, true,
-    true, true, false, false, true, false)), (String ((Ascii (true, false,
-    false, false, false, true, true, false)), (String ((Ascii (true, false,
-    true, true, false, true, true, false)), (String ((Ascii (true, false,
-    true, false, false, true, true, false)), EmptyString)))))))), (S (S (S (S
-    (S (S (S (S (S (S (S (S (S (S (S (S (S (S (S (S (S (S (S (S (S (S (S (S
-    (S (S (S (S (S (S (S O))))))))))))))))))))))))))))))))))))) :: ((SLit
-    ((Npos (XO (XO (XO (XO (XO XH)))))) :: ((Npos (XO (XO (XO (XO (XO
-    XH)))))) :: ((Npos (XO (XO (XO (XO (XO XH)))))) :: ((Npos (XO (XO (XO (XO
-    (XO XH)))))) :: ((Npos (XO (XO (XO (XO (XO XH)))))) :: ((Npos (XO (XO (XO
-    (XO (XO XH)))))) :: []))))))) :: ((SNum ((String ((Ascii (true, false,
-    true, false, false, false, true, false)), (String ((Ascii (false, true,
-    true, true, false, true, true, false)), (String ((Ascii (false, false,
-    true, false, true, true, true, false)), (String ((Ascii (false, true,
-    false, false, true, true, true, false)), (String ((Ascii (true, false,
-    false, true, true, true, true, false)), (String ((Ascii (false, false,
-    true, false, false, false, true, false)), (String ((Ascii (true, false,
-    true, false, false, true, true, false)), (String ((Ascii (false, false,
-    true, false, true, true, true, false)), (String ((Ascii (true, false,
-    false, false, false, true, true, false)), (String ((Ascii (true, false,
-    false, true, false, true, true, false)), (String ((Ascii (false, false,
-    true, true, false, true, true, false)), (String ((Ascii (true, true,
-    false, false, true, false, true, false)), (String ((Ascii (true, false,
-    true, false, false, true, true, false)), (String ((Ascii (true, false,
-    false, false, true, true, true, false)), (String ((Ascii (true, false,
-    true, false, true, true, true, false)), (String ((Ascii (true, false,
-    true, false, false, true, true, false)), (String ((Ascii (false, true,
-    true, true, false, true, true, false)), (String ((Ascii (true, true,
-    false, false, false, true, true, false)), (String ((Ascii (true, false,
-    true, false, false, true, true, false)), (String ((Ascii (false, true,
-    true, true, false, false, true, false)), (String ((Ascii (true, false,
-    true, false, true, true, true, false)), (String ((Ascii (true, false,
-    true, true, false, true, true, false)), (String ((Ascii (false, true,
-    false, false, false, true, true, false)), (String ((Ascii (true, false,
-    true, false, false, true, true, false)), (String ((Ascii (false, true,
-    false, false, true, true, true, false)),
-    EmptyString)))))))))))))))))))))))))))))))))))))))))))))))))), (S (S (S
-    (S (S (S (S O))))))))) :: [])))))))); l_cuts =
-    ((mkcut O (S O) EmptyString []) :: ((mkcut (S O) (S (S (S O))) (String
-                                          ((Ascii (false, false, true, false,
-                                          true, false, true, false)), (String
-                                          ((Ascii (true, false, false, true,
-                                          true, true, true, false)), (String
-                                          ((Ascii (false, false, false,
-                                          false, true, true, true, false)),
-                                          (String ((Ascii (true, false, true,
-                                          false, false, true, true, false)),
-                                          (String ((Ascii (true, true, false,
-                                          false, false, false, true, false)),
-                                          (String ((Ascii (true, true, true,
-                                          true, false, true, true, false)),
-                                          (String ((Ascii (false, false,
-                                          true, false, false, true, true,
-                                          false)), (String ((Ascii (true,
-                                          false, true, false, false, true,
-                                          true, false)),
-                                          EmptyString)))))))))))))))) []) :: (
-    (mkcut (S (S (S O))) (S (S (S (S (S (S O)))))) (String ((Ascii (false,
-      false, true, false, true, false, true, false)), (String ((Ascii (false,
-      true, false, false, true, true, true, false)), (String ((Ascii (true,
-      false, false, false, false, true, true, false)), (String ((Ascii
-      (false, true, true, true, false, true, true, false)), (String ((Ascii
-      (true, true, false, false, true, true, true, false)), (String ((Ascii
-      (true, false, false, false, false, true, true, false)), (String ((Ascii
-      (true, true, false, false, false, true, true, false)), (String ((Ascii
-      (false, false, true, false, true, true, true, false)), (String ((Ascii
-      (true, false, false, true, false, true, true, false)), (String ((Ascii
-      (true, true, true, true, false, true, true, false)), (String ((Ascii
-      (false, true, true, true, false, true, true, false)), (String ((Ascii
-      (false, false, true, false, true, false, true, false)), (String ((Ascii
-      (true, false, false, true, true, true, true, false)), (String ((Ascii
-      (false, false, false, false, true, true, true, false)), (String ((Ascii
-      (true, false, true, false, false, true, true, false)), (String ((Ascii
-      (true, true, false, false, false, false, true, false)), (String ((Ascii
-      (true, true, true, true, false, true, true, false)), (String ((Ascii
-      (false, false, true, false, false, true, true, false)), (String ((Ascii
-      (true, false, true, false, false, true, true, false)),
-      EmptyString)))))))))))))))))))))))))))))))))))))) []) :: ((mkcut (S (S
-                                                                  (S (S (S (S
-                                                                  O)))))) (S
-                                                                  (S (S (S (S
-                                                                  (S (S (S (S
-                                                                  (S (S (S (S
-                                                                  (S (S (S (S
-                                                                  (S (S (S (S
-                                                                  (S (S (S
-                                                                  O))))))))))))))))))))))))
-                                                                  (String
-                                                                  ((Ascii
-                                                                  (false,
-                                                                  true, true,
-                                                                  false,
-                                                                  false,
-                                                                  false,
-                                                                  true,
-                                                                  false)),
-                                                                  (String
-                                                                  ((Ascii
-                                                                  (true,
-                                                                  true, true,
-                                                                  true,
-                                                                  false,
-                                                                  true, true,
-                                                                  false)),
-                                                                  (String
-                                                                  ((Ascii
-                                                                  (false,
-                                                                  true,
-                                                                  false,
-                                                                  false,
-                                                                  true, true,
-                                                                  true,
-                                                                  false)),
-                                                                  (String
-                                                                  ((Ascii
-                                                                  (true,
-                                                                  false,
-                                                                  true,
-                                                                  false,
-                                                                  false,
-                                                                  true, true,
-                                                                  false)),
-                                                                  (String
-                                                                  ((Ascii
-                                                                  (true,
-                                                                  false,
-                                                                  false,
-                                                                  true,
-                                                                  false,
-                                                                  true, true,
-                                                                  false)),
-                                                                  (String
-                                                                  ((Ascii
-                                                                  (true,
-                                                                  true, true,
-                                                                  false,
-                                                                  false,
-                                                                  true, true,
-                                                                  false)),
-                                                                  (String
-                                                                  ((Ascii
-                                                                  (false,
-                                                                  true, true,
-                                                                  true,
-                                                                  false,
-                                                                  true, true,
-                                                                  false)),
-                                                                  (String
-                                                                  ((Ascii
-                                                                  (false,
-                                                                  false,
-                                                                  false,
-                                                                  false,
-                                                                  true,
-                                                                  false,
-                                                                  true,
-                                                                  false)),
-                                                                  (String
-                                                                  ((Ascii
-                                                                  (true,
-                                                                  false,
-                                                                  false,
-                                                                  false,
-                                                                  false,
-                                                                  true, true,
-                                                                  false)),
-                                                                  (String
-                                                                  ((Ascii
-                                                                  (true,
-                                                                  false,
-                                                                  false,
-                                                                  true, true,
-                                                                  true, true,
-                                                                  false)),
-                                                                  (String
-                                                                  ((Ascii
-                                                                  (true,
-                                                                  false,
-                                                                  true, true,
-                                                                  false,
-                                                                  true, true,
-                                                                  false)),
-                                                                  (String
-                                                                  ((Ascii
-                                                                  (true,
-                                                                  false,
-                                                                  true,
-                                                                  false,
-                                                                  false,
-                                                                  true, true,
-                                                                  false)),
-                                                                  (String
-                                                                  ((Ascii
-                                                                  (false,
-                                                                  true, true,
-                                                                  true,
-                                                                  false,
-                                                                  true, true,
-                                                                  false)),
-                                                                  (String
-                                                                  ((Ascii
-                                                                  (false,
-                                                                  false,
-                                                                  true,
-                                                                  false,
-                                                                  true, true,
-                                                                  true,
-                                                                  false)),
-                                                                  (String
-                                                                  ((Ascii
-                                                                  (true,
-                                                                  false,
-                                                                  false,
-                                                                  false,
-                                                                  false,
-                                                                  false,
-                                                                  true,
-                                                                  false)),
-                                                                  (String
-                                                                  ((Ascii
-                                                                  (true,
-                                                                  false,
-                                                                  true, true,
-                                                                  false,
-                                                                  true, true,
-                                                                  false)),
-                                                                  (String
-                                                                  ((Ascii
-                                                                  (true,
-                                                                  true, true,
-                                                                  true,
-                                                                  false,
-                                                                  true, true,
-                                                                  false)),
-                                                                  (String
-                                                                  ((Ascii
-                                                                  (true,
-                                                                  false,
-                                                                  true,
-                                                                  false,
-                                                                  true, true,
-                                                                  true,
-                                                                  false)),
-                                                                  (String
-                                                                  ((Ascii
-                                                                  (false,
-                                                                  true, true,
-                                                                  true,
-                                                                  false,
-                                                                  true, true,
-                                                                  false)),
-                                                                  (String
-                                                                  ((Ascii
-                                                                  (false,
-                                                                  false,
-                                                                  true,
-                                                                  false,
-                                                                  true, true,
-                                                                  true,
-                                                                  false)),
-                                                                  EmptyString))))))))))))))))))))))))))))))))))))))))
-                                                                  ((String
-                                                                  ((Ascii
-                                                                  (false,
-                                                                  false,
-                                                                  false,
-                                                                  false,
-                                                                  true, true,
-                                                                  true,
-                                                                  false)),
-                                                                  (String
-                                                                  ((Ascii
-                                                                  (true,
-                                                                  false,
-                                                                  false,
-                                                                  false,
-                                                                  false,
-                                                                  true, true,
-                                                                  false)),
-                                                                  (String
-                                                                  ((Ascii
-                                                                  (false,
-                                                                  true,
-                                                                  false,
-                                                                  false,
-                                                                  true, true,
-                                                                  true,
-                                                                  false)),
-                                                                  (String
-                                                                  ((Ascii
-                                                                  (true,
-                                                                  true,
-                                                                  false,
-                                                                  false,
-                                                                  true, true,
-                                                                  true,
-                                                                  false)),
-                                                                  (String
-                                                                  ((Ascii
-                                                                  (true,
-                                                                  false,
-                                                                  true,
-                                                                  false,
-                                                                  false,
-                                                                  true, true,
-                                                                  false)),
-                                                                  (String
-                                                                  ((Ascii
-                                                                  (false,
-                                                                  true, true,
-                                                                  true,
-                                                                  false,
-                                                                  false,
-                                                                  true,
-                                                                  false)),
-                                                                  (String
-                                                                  ((Ascii
-                                                                  (true,
-                                                                  false,
-                                                                  true,
-                                                                  false,
-                                                                  true, true,
-                                                                  true,
-                                                                  false)),
-                                                                  (String
-                                                                  ((Ascii
-                                                                  (true,
-                                                                  false,
-                                                                  true, true,
-                                                                  false,
-                                                                  true, true,
-                                                                  false)),
-                                                                  (String
-                                                                  ((Ascii
-                                                                  (false,
-                                                                  true, true,
-                                                                  false,
-                                                                  false,
-                                                                  false,
-                                                                  true,
-                                                                  false)),
-                                                                  (String
-                                                                  ((Ascii
-                                                                  (true,
-                                                                  false,
-                                                                  false,
-                                                                  true,
-                                                                  false,
-                                                                  true, true,
-                                                                  false)),
-                                                                  (String
-                                                                  ((Ascii
-                                                                  (true,
-                                                                  false,
-                                                                  true,
-                                                                  false,
-                                                                  false,
-                                                                  true, true,
-                                                                  false)),
-                                                                  (String
-                                                                  ((Ascii
-                                                                  (false,
-                                                                  false,
-                                                                  true, true,
-                                                                  false,
-                                                                  true, true,
-                                                                  false)),
-                                                                  (String
-                                                                  ((Ascii
-                                                                  (false,
-                                                                  false,
-                                                                  true,
-                                                                  false,
-                                                                  false,
-                                                                  true, true,
-                                                                  false)),
-                                                                  EmptyString)))))))))))))))))))))))))) :: [])) :: (
-    (mkcut (S (S (S (S (S (S (S (S (S (S (S (S (S (S (S (S (S (S (S (S (S (S
-      (S (S O)))))))))))))))))))))))) (S (S (S (S (S (S (S (S (S (S (S (S (S
-      (S (S (S (S (S (S (S (S (S (S (S (S (S (S (S (S (S (S (S (S (S (S (S (S
-      (S (S (S (S (S (S (S (S (S
-      O)))))))))))))))))))))))))))))))))))))))))))))) (String ((Ascii (false,
-      true, true, false, false, false, true, false)), (String ((Ascii (true,
-      true, true, true, false, true, true, false)), (String ((Ascii (false,
-      true, false, false, true, true, true, false)), (String ((Ascii (true,
-      false, true, false, false, true, true, false)), (String ((Ascii (true,
-      false, false, true, false, true, true, false)), (String ((Ascii (true,
-      true, true, false, false, true, true, false)), (String ((Ascii (false,
-      true, true, true, false, true, true, false)), (String ((Ascii (false,
-      false, true, false, true, false, true, false)), (String ((Ascii (false,
-      true, false, false, true, true, true, false)), (String ((Ascii (true,
-      false, false, false, false, true, true, false)), (String ((Ascii (true,
-      true, false, false, false, true, true, false)), (String ((Ascii (true,
-      false, true, false, false, true, true, false)), (String ((Ascii (false,
-      true, true, true, false, false, true, false)), (String ((Ascii (true,
-      false, true, false, true, true, true, false)), (String ((Ascii (true,
-      false, true, true, false, true, true, false)), (String ((Ascii (false,
-      true, false, false, false, true, true, false)), (String ((Ascii (true,
-      false, true, false, false, true, true, false)), (String ((Ascii (false,
-      true, false, false, true, true, true, false)),
-      EmptyString)))))))))))))))))))))))))))))))))))) ((String ((Ascii (true,
-      true, false, false, true, true, true, false)), (String ((Ascii (false,
-      false, true, false, true, true, true, false)), (String ((Ascii (false,
-      true, false, false, true, true, true, false)), (String ((Ascii (true,
-      false, false, true, false, true, true, false)), (String ((Ascii (false,
-      true, true, true, false, true, true, false)), (String ((Ascii (true,
-      true, true, false, false, true, true, false)), (String ((Ascii (true,
-      true, false, false, true, true, true, false)), (String ((Ascii (false,
-      true, true, true, false, true, false, false)), (String ((Ascii (false,
-      false, true, false, true, false, true, false)), (String ((Ascii (false,
-      true, false, false, true, true, true, false)), (String ((Ascii (true,
-      false, false, true, false, true, true, false)), (String ((Ascii (true,
-      false, true, true, false, true, true, false)), (String ((Ascii (true,
-      true, false, false, true, false, true, false)), (String ((Ascii (false,
-      false, false, false, true, true, true, false)), (String ((Ascii (true,
-      false, false, false, false, true, true, false)), (String ((Ascii (true,
-      true, false, false, false, true, true, false)), (String ((Ascii (true,
-      false, true, false, false, true, true, false)),
-      EmptyString)))))))))))))))))))))))))))))))))) :: [])) :: ((mkcut (S (S
-                                                                  (S (S (S (S
-                                                                  (S (S (S (S
-                                                                  (S (S (S (S
-                                                                  (S (S (S (S
-                                                                  (S (S (S (S
-                                                                  (S (S (S (S
-                                                                  (S (S (S (S
-                                                                  (S (S (S (S
-                                                                  (S (S (S (S
-                                                                  (S (S (S (S
-                                                                  (S (S (S (S
-                                                                  O))))))))))))))))))))))))))))))))))))))))))))))
-                                                                  (S (S (S (S
-                                                                  (S (S (S (S
-                                                                  (S (S (S (S
-                                                                  (S (S (S (S
-                                                                  (S (S (S (S
-                                                                  (S (S (S (S
-                                                                  (S (S (S (S
-                                                                  (S (S (S (S
-                                                                  (S (S (S (S
-                                                                  (S (S (S (S
-                                                                  (S (S (S (S
-                                                                  (S (S (S (S
-                                                                  (S (S (S (S
-                                                                  (S (S (S (S
-                                                                  (S (S (S (S
-                                                                  (S (S (S (S
-                                                                  (S (S (S (S
-                                                                  (S (S (S (S
-                                                                  (S (S (S (S
-                                                                  (S (S (S (S
-                                                                  (S
-                                                                  O)))))))))))))))))))))))))))))))))))))))))))))))))))))))))))))))))))))))))))))))))
-                                                                  (String
-                                                                  ((Ascii
-                                                                  (false,
-                                                                  true, true,
-                                                                  true,
-                                                                  false,
-                                                                  false,
-                                                                  true,
-                                                                  false)),
-                                                                  (String
-                                                                  ((Ascii
-                                                                  (true,
-                                                                  false,
-                                                                  false,
-                                                                  false,
-                                                                  false,
-                                                                  true, true,
-                                                                  false)),
-                                                                  (String
-                                                                  ((Ascii
-                                                                  (true,
-                                                                  false,
-                                                                  true, true,
-                                                                  false,
-                                                                  true, true,
-                                                                  false)),
-                                                                  (String
-                                                                  ((Ascii
-                                                                  (true,
-                                                                  false,
-                                                                  true,
-                                                                  false,
-                                                                  false,
-                                                                  true, true,
-                                                                  false)),
-                                                                  EmptyString))))))))
-                                                                  ((String
-                                                                  ((Ascii
-                                                                  (true,
-                                                                  true,
-                                                                  false,
-                                                                  false,
-                                                                  true, true,
-                                                                  true,
-                                                                  false)),
-                                                                  (String
-                                                                  ((Ascii
-                                                                  (false,
-                                                                  false,
-                                                                  true,
-                                                                  false,
-                                                                  true, true,
-                                                                  true,
-                                                                  false)),
-                                                                  (String
-                                                                  ((Ascii
-                                                                  (false,
-                                                                  true,
-                                                                  false,
-                                                                  false,
-                                                                  true, true,
-                                                                  true,
-                                                                  false)),
-                                                                  (String
-                                                                  ((Ascii
-                                                                  (true,
-                                                                  false,
-                                                                  false,
-                                                                  true,
-                                                                  false,
-                                                                  true, true,
-                                                                  false)),
-                                                                  (String
-                                                                  ((Ascii
-                                                                  (false,
-                                                                  true, true,
-                                                                  true,
-                                                                  false,
-                                                                  true, true,
-                                                                  false)),
-                                                                  (String
-                                                                  ((Ascii
-                                                                  (true,
-                                                                  true, true,
-                                                                  false,
-                                                                  false,
-                                                                  true, true,
-                                                                  false)),
-                                                                  (String
-                                                                  ((Ascii
-                                                                  (true,
-                                                                  true,
-                                                                  false,
-                                                                  false,
-                                                                  true, true,
-                                                                  true,
-                                                                  false)),
-                                                                  (String
-                                                                  ((Ascii
-                                                                  (false,
-                                                                  true, true,
-                                                                  true,
-                                                                  false,
-                                                                  true,
-                                                                  false,
-                                                                  false)),
-                                                                  (String
-                                                                  ((Ascii
-                                                                  (false,
-                                                                  false,
-                                                                  true,
-                                                                  false,
-                                                                  true,
-                                                                  false,
-                                                                  true,
-                                                                  false)),
-                                                                  (String
-                                                                  ((Ascii
-                                                                  (false,
-                                                                  true,
-                                                                  false,
-                                                                  false,
-                                                                  true, true,
-                                                                  true,
-                                                                  false)),
-                                                                  (String
-                                                                  ((Ascii
-                                                                  (true,
-                                                                  false,
-                                                                  false,
-                                                                  true,
-                                                                  false,
-                                                                  true, true,
-                                                                  false)),
-                                                                  (String
-                                                                  ((Ascii
-                                                                  (true,
-                                                                  false,
-                                                                  true, true,
-                                                                  false,
-                                                                  true, true,
-                                                                  false)),
-                                                                  (String
-                                                                  ((Ascii
-                                                                  (true,
-                                                                  true,
-                                                                  false,
-                                                                  false,
-                                                                  true,
-                                                                  false,
-                                                                  true,
-                                                                  false)),
-                                                                  (String
-                                                                  ((Ascii
-                                                                  (false,
-                                                                  false,
-                                                                  false,
-                                                                  false,
-                                                                  true, true,
-                                                                  true,
-                                                                  false)),
-                                                                  (String
-                                                                  ((Ascii
-                                                                  (true,
-                                                                  false,
-                                                                  false,
-                                                                  false,
-                                                                  false,
-                                                                  true, true,
-                                                                  false)),
-                                                                  (String
-                                                                  ((Ascii
-                                                                  (true,
-                                                                  true,
-                                                                  false,
-                                                                  false,
-                                                                  false,
-                                                                  true, true,
-                                                                  false)),
-                                                                  (String
-                                                                  ((Ascii
-                                                                  (true,
-                                                                  false,
-                                                                  true,
-                                                                  false,
-                                                                  false,
-                                                                  true, true,
-                                                                  false)),
-                                                                  EmptyString)))))))))))))))))))))))))))))))))) :: [])) :: (
-    (mkcut (S (S (S (S (S (S (S (S (S (S (S (S (S (S (S (S (S (S (S (S (S (S
-      (S (S (S (S (S (S (S (S (S (S (S (S (S (S (S (S (S (S (S (S (S (S (S (S
-      (S (S (S (S (S (S (S (S (S (S (S (S (S (S (S (S (S (S (S (S (S (S (S (S
-      (S (S (S (S (S (S (S (S (S (S (S
-      O)))))))))))))))))))))))))))))))))))))))))))))))))))))))))))))))))))))))))))))))))
-      (S (S (S (S (S (S (S (S (S (S (S (S (S (S (S (S (S (S (S (S (S (S (S (S
-      (S (S (S (S (S (S (S (S (S (S (S (S (S (S (S (S (S (S (S (S (S (S (S (S
-      (S (S (S (S (S (S (S (S (S (S (S (S (S (S (S (S (S (S (S (S (S (S (S (S
-      (S (S (S (S (S (S (S (S (S (S (S (S (S (S (S
-      O)))))))))))))))))))))))))))))))))))))))))))))))))))))))))))))))))))))))))))))))))))))))
-      EmptyString []) :: ((mkcut (S (S (S (S (S (S (S (S (S (S (S (S (S (S (S
-                            (S (S (S (S (S (S (S (S (S (S (S (S (S (S (S (S
-                            (S (S (S (S (S (S (S (S (S (S (S (S (S (S (S (S
-                            (S (S (S (S (S (S (S (S (S (S (S (S (S (S (S (S
-                            (S (S (S (S (S (S (S (S (S (S (S (S (S (S (S (S
-                            (S (S (S (S (S (S (S (S
-                            O)))))))))))))))))))))))))))))))))))))))))))))))))))))))))))))))))))))))))))))))))))))))
-                            (S (S (S (S (S (S (S (S (S (S (S (S (S (S (S (S
-                            (S (S (S (S (S (S (S (S (S (S (S (S (S (S (S (S
-                            (S (S (S (S (S (S (S (S (S (S (S (S (S (S (S (S
-                            (S (S (S (S (S (S (S (S (S (S (S (S (S (S (S (S
-                            (S (S (S (S (S (S (S (S (S (S (S (S (S (S (S (S
-                            (S (S (S (S (S (S (S (S (S (S (S (S (S (S
-                            O))))))))))))))))))))))))))))))))))))))))))))))))))))))))))))))))))))))))))))))))))))))))))))))
-                            (String ((Ascii (true, false, true, false, false,
-                            false, true, false)), (String ((Ascii (false,
-                            true, true, true, false, true, true, false)),
-                            (String ((Ascii (false, false, true, false, true,
-                            true, true, false)), (String ((Ascii (false,
-                            true, false, false, true, true, true, false)),
-                            (String ((Ascii (true, false, false, true, true,
-                            true, true, false)), (String ((Ascii (false,
-                            false, true, false, false, false, true, false)),
-                            (String ((Ascii (true, false, true, false, false,
-                            true, true, false)), (String ((Ascii (false,
-                            false, true, false, true, true, true, false)),
-                            (String ((Ascii (true, false, false, false,
-                            false, true, true, false)), (String ((Ascii
-                            (true, false, false, true, false, true, true,
-                            false)), (String ((Ascii (false, false, true,
-                            true, false, true, true, false)), (String ((Ascii
-                            (true, true, false, false, true, false, true,
-                            false)), (String ((Ascii (true, false, true,
-                            false, false, true, true, false)), (String
-                            ((Ascii (true, false, false, false, true, true,
-                            true, false)), (String ((Ascii (true, false,
-                            true, false, true, true, true, false)), (String
-                            ((Ascii (true, false, true, false, false, true,
-                            true, false)), (String ((Ascii (false, true,
-                            true, true, false, true, true, false)), (String
-                            ((Ascii (true, true, false, false, false, true,
-                            true, false)), (String ((Ascii (true, false,
-                            true, false, false, true, true, false)), (String
-                            ((Ascii (false, true, true, true, false, false,
-                            true, false)), (String ((Ascii (true, false,
-                            true, false, true, true, true, false)), (String
-                            ((Ascii (true, false, true, true, false, true,
-                            true, false)), (String ((Ascii (false, true,
-                            false, false, false, true, true, false)), (String
-                            ((Ascii (true, false, true, false, false, true,
-                            true, false)), (String ((Ascii (false, true,
-                            false, false, true, true, true, false)),
-                            EmptyString))))))))))))))))))))))))))))))))))))))))))))))))))
-                            ((String ((Ascii (false, false, false, false,
-                            true, true, true, false)), (String ((Ascii (true,
-                            false, false, false, false, true, true, false)),
-                            (String ((Ascii (false, true, false, false, true,
-                            true, true, false)), (String ((Ascii (true, true,
-                            false, false, true, true, true, false)), (String
-                            ((Ascii (true, false, true, false, false, true,
-                            true, false)), (String ((Ascii (false, true,
-                            true, true, false, false, true, false)), (String
-                            ((Ascii (true, false, true, false, true, true,
-                            true, false)), (String ((Ascii (true, false,
-                            true, true, false, true, true, false)), (String
-                            ((Ascii (false, true, true, false, false, false,
-                            true, false)), (String ((Ascii (true, false,
-                            false, true, false, true, true, false)), (String
-                            ((Ascii (true, false, true, false, false, true,
-                            true, false)), (String ((Ascii (false, false,
-                            true, true, false, true, true, false)), (String
-                            ((Ascii (false, false, true, false, false, true,
-                            true, false)),
-                            EmptyString)))))))))))))))))))))))))) :: [])) :: [])))))))) }
+let pad_count n0 =
+  if N.eqb (N.modulo n0 (Npos (XO (XI (XO XH))))) N0
+  then O
+  else N.to_nat
+         (N.sub (Npos (XO (XI (XO XH))))
+           (N.modulo n0 (Npos (XO (XI (XO XH))))))
 
-(** val l_Addenda11 : layout **)
+(** val pad_loop : wpolicy -> bytes -> nat -> bw -> bw * act **)
 
-let l_Addenda11 =
-  { l_name = (String ((Ascii (true, false, false, false, false, false, true,
-    false)), (String ((Ascii (false, false, true, false, false, true, true,
-    false)), (String ((Ascii (false, false, true, false, false, true, true,
-    false)), (String ((Ascii (true, false, true, false, false, true, true,
-    false)), (String ((Ascii (false, true, true, true, false, true, true,
-    false)), (String ((Ascii (false, false, true, false, false, true, true,
-    false)), (String ((Ascii (true, false, false, false, false, true, true,
-    false)), (String ((Ascii (true, false, false, false, true, true, false,
-    false)), (String ((Ascii (true, false, false, false, true, true, false,
-    false)), EmptyString)))))))))))))))))); l_ix = IRune; l_segs = ((SLit
-    ((Npos (XI (XI (XI (XO (XI XH)))))) :: [])) :: ((SRaw (String ((Ascii
-    (false, false, true, false, true, false, true, false)), (String ((Ascii
-    (true, false, false, true, true, true, true, false)), (String ((Ascii
-    (false, false, false, false, true, true, true, false)), (String ((Ascii
-    (true, false, true, false, false, true, true, false)), (String ((Ascii
-    (true, true, false, false, false, false, true, false)), (String ((Ascii
-    (true, true, true, true, false, true, true, false)), (String ((Ascii
-    (false, false, true, false, false, true, true, false)), (String ((Ascii
-    (true, false, true, false, false, true, true, false)),
-    EmptyString))))))))))))))))) :: ((SAlpha ((String ((Ascii (true, true,
-    true, true, false, false, true, false)), (String ((Ascii (false, true,
-    false, false, true, true, true, false)), (String ((Ascii (true, false,
-    false, true, false, true, true, false)), (String ((Ascii (true, true,
-    true, false, false, true, true, false)), (String ((Ascii (true, false,
-    false, true, false, true, true, false)), (String ((Ascii (false, true,
-    true, true, false, true, true, false)), (String ((Ascii (true, false,
-    false, false, false, true, true, false)), (String ((Ascii (false, false,
-    true, false, true, true, true, false)), (String ((Ascii (true, true,
-    true, true, false, true, true, false)), (String ((Ascii (false, true,
-    false, false, true, true, true, false)), (String ((Ascii (false, true,
-    true, true, false, false, true, false)), (String ((Ascii (true, false,
-    false, false, false, true, true, false)), (String ((Ascii (true, false,
-    true, true, false, true, true, false)), (String ((Ascii (true, false,
-    true, false, false, true, true, false)),
-    EmptyString)))))))))))))))))))))))))))), (S (S (S (S (S (S (S (S (S (S (S
-    (S (S (S (S (S (S (S (S (S (S (S (S (S (S (S (S (S (S (S (S (S (S (S (S
-    O))))))))))))))))))))))))))))))))))))) :: ((SAlpha ((String ((Ascii
-    (true, true, true, true, false, false, true, false)), (String ((Ascii
-    (false, true, false, false, true, true, true, false)), (String ((Ascii
-    (true, false, false, true, false, true, true, false)), (String ((Ascii
-    (true, true, true, false, false, true, true, false)), (String ((Ascii
-    (true, false, false, true, false, true, true, false)), (String ((Ascii
-    (false, true, true, true, false, true, true, false)), (String ((Ascii
-    (true, false, false, false, false, true, true, false)), (String ((Ascii
-    (false, false, true, false, true, true, true, false)), (String ((Ascii
-    (true, true, true, true, false, true, true, false)), (String ((Ascii
-    (false, true, false, false, true, true, true, false)), (String ((Ascii
-    (true, true, false, false, true, false, true, false)), (String ((Ascii
-    (false, false, true, false, true, true, true, false)), (String ((Ascii
-    (false, true, false, false, true, true, true, false)), (String ((Ascii
-    (true, false, true, false, false, true, true, false)), (String ((Ascii
-    (true, false, true, false, false, true, true, false)), (String ((Ascii
-    (false, false, true, false, true, true, true, false)), (String ((Ascii
-    (true, false, false, false, false, false, true, false)), (String ((Ascii
-    (false, false, true, false, false, true, true, false)), (String ((Ascii
-    (false, false, true, false, false, true, true, false)), (String ((Ascii
-    (false, true, false, false, true, true, true, false)), (String ((Ascii
-    (true, false, true, false, false, true, true, false)), (String ((Ascii
-    (true, true, false, false, true, true, true, false)), (String ((Ascii
-    (true, true, false, false, true, true, true, false)),
-    EmptyString)))))))))))))))))))))))))))))))))))))))))))))), (S (S (S (S (S
-    (S (S (S (S (S (S (S (S (S (S (S (S (S (S (S (S (S (S (S (S (S (S (S (S
-    (S (S (S (S (S (S O))))))))))))))))))))))))))))))))))))) :: ((SLit ((Npos
-    (XO (XO (XO (XO (XO XH)))))) :: ((Npos (XO (XO (XO (XO (XO
-    XH)))))) :: ((Npos (XO (XO (XO (XO (XO XH)))))) :: ((Npos (XO (XO (XO (XO
-    (XO XH)))))) :: ((Npos (XO (XO (XO (XO (XO XH)))))) :: ((Npos (XO (XO (XO
-    (XO (XO XH)))))) :: ((Npos (XO (XO (XO (XO (XO XH)))))) :: ((Npos (XO (XO
-    (XO (XO (XO XH)))))) :: ((Npos (XO (XO (XO (XO (XO XH)))))) :: ((Npos (XO
-    (XO (XO (XO (XO XH)))))) :: ((Npos (XO (XO (XO (XO (XO XH)))))) :: ((Npos
-    (XO (XO (XO (XO (XO XH)))))) :: ((Npos (XO (XO (XO (XO (XO
-    XH)))))) :: ((Npos (XO (XO (XO (XO (XO
-    XH)))))) :: []))))))))))))))) :: ((SNum ((String ((Ascii (true, false,
-    true, false, false, false, true, false)), (String ((Ascii (false, true,
-    true, true, false, true, true, false)), (String ((Ascii (false, false,
-    true, false, true, true, true, false)), (String ((Ascii (false, true,
-    false, false, true, true, true, false)), (String ((Ascii (true, false,
-    false, true, true, true, true, false)), (String ((Ascii (false, false,
-    true, false, false, false, true, false)), (String ((Ascii (true, false,
-    true, false, false, true, true, false)), (String ((Ascii (false, false,
-    true, false, true, true, true, false)), (String ((Ascii (true, false,
-    false, false, false, true, true, false)), (String ((Ascii (true, false,
-    false, true, false, true, true, false)), (String ((Ascii (false, false,
-    true, true, false, true, true, false)), (String ((Ascii (true, true,
-    false, false, true, false, true, false)), (String ((Ascii (true, false,
-    true, false, false, true, true, false)), (String ((Ascii (true, false,
-    false, false, true, true, true, false)), (String ((Ascii (true, false,
-    true, false, true, true, true, false)), (String ((Ascii (true, false,
-    true, false, false, true, true, false)), (String ((Ascii (false, true,
-    true, true, false, true, true, false)), (String ((Ascii (true, true,
-    false, false, false, true, true, false)), (String ((Ascii (true, false,
-    true, false, false, true, true, false)), (String ((Ascii (false, true,
-    true, true, false, false, true, false)), (String ((Ascii (true, false,
-    true, false, true, true, true, false)), (String ((Ascii (true, false,
-    true, true, false, true, true, false)), (String ((Ascii (false, true,
-    false, false, false, true, true, false)), (String ((Ascii (true, false,
-    true, false, false, true, true, false)), (String ((Ascii (false, true,
-    false, false, true, true, true, false)),
-    EmptyString)))))))))))))))))))))))))))))))))))))))))))))))))), (S (S (S
-    (S (S (S (S O))))))))) :: [])))))); l_cuts =
-    ((mkcut O (S O) EmptyString []) :: ((mkcut (S O) (S (S (S O))) (String
-                                          ((Ascii (false, false, true, false,
-                                          true, false, true, false)), (String
-                                          ((Ascii (true, false, false, true,
-                                          true, true, true, false)), (String
-                                          ((Ascii (false, false, false,
-                                          false, true, true, true, false)),
-                                          (String ((Ascii (true, false, true,
-                                          false, false, true, true, false)),
-                                          (String ((Ascii (true, true, false,
-                                          false, false, false, true, false)),
-                                          (String ((Ascii (true, true, true,
-                                          true, false, true, true, false)),
-                                          (String ((Ascii (false, false,
-                                          true, false, false, true, true,
-                                          false)), (String ((Ascii (true,
-                                          false, true, false, false, true,
-                                          true, false)),
-                                          EmptyString)))))))))))))))) []) :: (
-    (mkcut (S (S (S O))) (S (S (S (S (S (S (S (S (S (S (S (S (S (S (S (S (S
-      (S (S (S (S (S (S (S (S (S (S (S (S (S (S (S (S (S (S (S (S (S
-      O)))))))))))))))))))))))))))))))))))))) (String ((Ascii (true, true,
-      true, true, false, false, true, false)), (String ((Ascii (false, true,
-      false, false, true, true, true, false)), (String ((Ascii (true, false,
-      false, true, false, true, true, false)), (String ((Ascii (true, true,
-      true, false, false, true, true, false)), (String ((Ascii (true, false,
-      false, true, false, true, true, false)), (String ((Ascii (false, true,
-      true, true, false, true, true, false)), (String ((Ascii (true, false,
-      false, false, false, true, true, false)), (String ((Ascii (false,
-      false, true, false, true, true, true, false)), (String ((Ascii (true,
-      true, true, true, false, true, true, false)), (String ((Ascii (false,
-      true, false, false, true, true, true, false)), (String ((Ascii (false,
-      true, true, true, false, false, true, false)), (String ((Ascii (true,
-      false, false, false, false, true, true, false)), (String ((Ascii (true,
-      false, true, true, false, true, true, false)), (String ((Ascii (true,
-      false, true, false, false, true, true, false)),
-      EmptyString)))))))))))))))))))))))))))) ((String ((Ascii (true, true,
-      false, false, true, true, true, false)), (String ((Ascii (false, false,
-      true, false, true, true, true, false)), (String ((Ascii (false, true,
-      false, false, true, true, true, false)), (String ((Ascii (true, false,
-      false, true, false, true, true, false)), (String ((Ascii (false, true,
-      true, true, false, true, true, false)), (String ((Ascii (true, true,
-      true, false, false, true, true, false)), (String ((Ascii (true, true,
-      false, false, true, true, true, false)), (String ((Ascii (false, true,
-      true, true, false, true, false, false)), (String ((Ascii (false, false,
-      true, false, true, false, true, false)), (String ((Ascii (false, true,
-      false, false, true, true, true, false)), (String ((Ascii (true, false,
-      false, true, false, true, true, false)), (String ((Ascii (true, false,
-      true, true, false, true, true, false)), (String ((Ascii (true, true,
-      false, false, true, false, true, false)), (String ((Ascii (false,
-      false, false, false, true, true, true, false)), (String ((Ascii (true,
-      false, false, false, false, true, true, false)), (String ((Ascii (true,
-      true, false, false, false, true, true, false)), (String ((Ascii (true,
-      false, true, false, false, true, true, false)),
-      EmptyString)))))))))))))))))))))))))))))))))) :: [])) :: ((mkcut (S (S
-                                                                  (S (S (S (S
-                                                                  (S (S (S (S
-                                                                  (S (S (S (S
-                                                                  (S (S (S (S
-                                                                  (S (S (S (S
-                                                                  (S (S (S (S
-                                                                  (S (S (S (S
-                                                                  (S (S (S (S
-                                                                  (S (S (S (S
-                                                                  O))))))))))))))))))))))))))))))))))))))
-                                                                  (S (S (S (S
-                                                                  (S (S (S (S
-                                                                  (S (S (S (S
-                                                                  (S (S (S (S
-                                                                  (S (S (S (S
-                                                                  (S (S (S (S
-                                                                  (S (S (S (S
-                                                                  (S (S (S (S
-                                                                  (S (S (S (S
-                                                                  (S (S (S (S
-                                                                  (S (S (S (S
-                                                                  (S (S (S (S
-                                                                  (S (S (S (S
-                                                                  (S (S (S (S
-                                                                  (S (S (S (S
-                                                                  (S (S (S (S
-                                                                  (S (S (S (S
-                                                                  (S (S (S (S
-                                                                  (S
-                                                                  O)))))))))))))))))))))))))))))))))))))))))))))))))))))))))))))))))))))))))
-                                                                  (String
-                                                                  ((Ascii
-                                                                  (true,
-                                                                  true, true,
-                                                                  true,
-                                                                  false,
-                                                                  false,
-                                                                  true,
-                                                                  false)),
-                                                                  (String
-                                                                  ((Ascii
-                                                                  (false,
-                                                                  true,
-                                                                  false,
-                                                                  false,
-                                                                  true, true,
-                                                                  true,
-                                                                  false)),
-                                                                  (String
-                                                                  ((Ascii
-                                                                  (true,
-                                                                  false,
-                                                                  false,
-                                                                  true,
-                                                                  false,
-                                                                  true, true,
-                                                                  false)),
-                                                                  (String
-                                                                  ((Ascii
-                                                                  (true,
-                                                                  true, true,
-                                                                  false,
-                                                                  false,
-                                                                  true, true,
-                                                                  false)),
-                                                                  (String
-                                                                  ((Ascii
-                                                                  (true,
-                                                                  false,
-                                                                  false,
-                                                                  true,
-                                                                  false,
-                                                                  true, true,
-                                                                  false)),
-                                                                  (String
-                                                                  ((Ascii
-                                                                  (false,
-                                                                  true, true,
-                                                                  true,
-                                                                  false,
-                                                                  true, true,
-                                                                  false)),
-                                                                  (String
-                                                                  ((Ascii
-                                                                  (true,
-                                                                  false,
-                                                                  false,
-                                                                  false,
-                                                                  false,
-                                                                  true, true,
-                                                                  false)),
-                                                                  (String
-                                                                  ((Ascii
-                                                                  (false,
-                                                                  false,
-                                                                  true,
-                                                                  false,
-                                                                  true, true,
-                                                                  true,
-                                                                  false)),
-                                                                  (String
-                                                                  ((Ascii
-                                                                  (true,
-                                                                  true, true,
-                                                                  true,
-                                                                  false,
-                                                                  true, true,
-                                                                  false)),
-                                                                  (String
-                                                                  ((Ascii
-                                                                  (false,
-                                                                  true,
-                                                                  false,
-                                                                  false,
-                                                                  true, true,
-                                                                  true,
-                                                                  false)),
-                                                                  (String
-                                                                  ((Ascii
-                                                                  (true,
-                                                                  true,
-                                                                  false,
-                                                                  false,
-                                                                  true,
-                                                                  false,
-                                                                  true,
-                                                                  false)),
-                                                                  (String
-                                                                  ((Ascii
-                                                                  (false,
-                                                                  false,
-                                                                  true,
-                                                                  false,
-                                                                  true, true,
-                                                                  true,
-                                                                  false)),
-                                                                  (String
-                                                                  ((Ascii
-                                                                  (false,
-                                                                  true,
-                                                                  false,
-                                                                  false,
-                                                                  true, true,
-                                                                  true,
-                                                                  false)),
-                                                                  (String
-                                                                  ((Ascii
-                                                                  (true,
-                                                                  false,
-                                                                  true,
-                                                                  false,
-                                                                  false,
-                                                                  true, true,
-                                                                  false)),
-                                                                  (String
-                                                                  ((Ascii
-                                                                  (true,
-                                                                  false,
-                                                                  true,
-                                                                  false,
-                                                                  false,
-                                                                  true, true,
-                                                                  false)),
-                                                                  (String
-                                                                  ((Ascii
-                                                                  (false,
-                                                                  false,
-                                                                  true,
-                                                                  false,
-                                                                  true, true,
-                                                                  true,
-                                                                  false)),
-                                                                  (String
-                                                                  ((Ascii
-                                                                  (true,
-                                                                  false,
-                                                                  false,
-                                                                  false,
-                                                                  false,
-                                                                  false,
-                                                                  true,
-                                                                  false)),
-                                                                  (String
-                                                                  ((Ascii
-                                                                  (false,
-                                                                  false,
-                                                                  true,
-                                                                  false,
-                                                                  false,
-                                                                  true, true,
-                                                                  false)),
-                                                                  (String
-                                                                  ((Ascii
-                                                                  (false,
-                                                                  false,
-                                                                  true,
-                                                                  false,
-                                                                  false,
-                                                                  true, true,
-                                                                  false)),
-                                                                  (String
-                                                                  ((Ascii
-                                                                  (false,
-                                                                  true,
-                                                                  false,
-                                                                  false,
-                                                                  true, true,
-                                                                  true,
-                                                                  false)),
-                                                                  (String
-                                                                  ((Ascii
-                                                                  (true,
-                                                                  false,
-                                                                  true,
-                                                                  false,
-                                                                  false,
-                                                                  true, true,
-                                                                  false)),
-                                                                  (String
-                                                                  ((Ascii
-                                                                  (true,
-                                                                  true,
-                                                                  false,
-                                                                  false,
-                                                                  true, true,
-                                                                  true,
-                                                                  false)),
-                                                                  (String
-                                                                  ((Ascii
-                                                                  (true,
-                                                                  true,
-                                                                  false,
-                                                                  false,
-                                                                  true, true,
-                                                                  true,
-                                                                  false)),
-                                                                  EmptyString))))))))))))))))))))))))))))))))))))))))))))))
-                                                                  ((String
-                                                                  ((Ascii
-                                                                  (true,
-                                                                  true,
-                                                                  false,
-                                                                  false,
-                                                                  true, true,
-                                                                  true,
-                                                                  false)),
-                                                                  (String
-                                                                  ((Ascii
-                                                                  (false,
-                                                                  false,
-                                                                  true,
-                                                                  false,
-                                                                  true, true,
-                                                                  true,
-                                                                  false)),
-                                                                  (String
-                                                                  ((Ascii
-                                                                  (false,
-                                                                  true,
-                                                                  false,
-                                                                  false,
-                                                                  true, true,
-                                                                  true,
-                                                                  false)),
-                                                                  (String
-                                                                  ((Ascii
-                                                                  (true,
-                                                                  false,
-                                                                  false,
-                                                                  true,
-                                                                  false,
-                                                                  true, true,
-                                                                  false)),
-                                                                  (String
-                                                                  ((Ascii
-                                                                  (false,
-                                                                  true, true,
-                                                                  true,
-                                                                  false,
-                                                                  true, true,
-                                                                  false)),
-                                                                  (String
-                                                                  ((Ascii
-                                                                  (true,
-                                                                  true, true,
-                                                                  false,
-                                                                  false,
-                                                                  true, true,
-                                                                  false)),
-                                                                  (String
-                                                                  ((Ascii
-                                                                  (true,
-                                                                  true,
-                                                                  false,
-                                                                  false,
-                                                                  true, true,
-                                                                  true,
-                                                                  false)),
-                                                                  (String
-                                                                  ((Ascii
-                                                                  (false,
-                                                                  true, true,
-                                                                  true,
-                                                                  false,
-                                                                  true,
-                                                                  false,
-                                                                  false)),
-                                                                  (String
-                                                                  ((Ascii
-                                                                  (false,
-                                                                  false,
-                                                                  true,
-                                                                  false,
-                                                                  true,
-                                                                  false,
-                                                                  true,
-                                                                  false)),
-                                                                  (String
-                                                                  ((Ascii
-                                                                  (false,
-                                                                  true,
-                                                                  false,
-                                                                  false,
-                                                                  true, true,
-                                                                  true,
-                                                                  false)),
-                                                                  (String
-                                                                  ((Ascii
-                                                                  (true,
-                                                                  false,
-                                                                  false,
-                                                                  true,
-                                                                  false,
-                                                                  true, true,
-                                                                  false)),
-                                                                  (String
-                                                                  ((Ascii
-                                                                  (true,
-                                                                  false,
-                                                                  true, true,
-                                                                  false,
-                                                                  true, true,
-                                                                  false)),
-                                                                  (String
-                                                                  ((Ascii
-                                                                  (true,
-                                                                  true,
-                                                                  false,
-                                                                  false,
-                                                                  true,
-                                                                  false,
-                                                                  true,
-                                                                  false)),
-                                                                  (String
-                                                                  ((Ascii
-                                                                  (false,
-                                                                  false,
-                                                                  false,
-                                                                  false,
-                                                                  true, true,
-                                                                  true,
-                                                                  false)),
-                                                                  (String
-                                                                  ((Ascii
-                                                                  (true,
-                                                                  false,
-                                                                  false,
-                                                                  false,
-                                                                  false,
-                                                                  true, true,
-                                                                  false)),
-                                                                  (String
-                                                                  ((Ascii
-                                                                  (true,
-                                                                  true,
-                                                                  false,
-                                                                  false,
-                                                                  false,
-                                                                  true, true,
-                                                                  false)),
-                                                                  (String
-                                                                  ((Ascii
-                                                                  (true,
-                                                                  false,
-                                                                  true,
-                                                                  false,
-                                                                  false,
-                                                                  true, true,
-                                                                  false)),
-                                                                  EmptyString)))))))))))))))))))))))))))))))))) :: [])) :: (
-    (mkcut (S (S (S (S (S (S (S (S (S (S (S (S (S (S (S (S (S (S (S (S (S (S
-      (S (S (S (S (S (S (S (S (S (S (S (S (S (S (S (S (S (S (S (S (S (S (S (S
-      (S (S (S (S (S (S (S (S (S (S (S (S (S (S (S (S (S (S (S (S (S (S (S (S
-      (S (S (S
-      O)))))))))))))))))))))))))))))))))))))))))))))))))))))))))))))))))))))))))
-      (S (S (S (S (S (S (S (S (S (S (S (S (S (S (S (S (S (S (S (S (S (S (S (S
-      (S (S (S (S (S (S (S (S (S (S (S (S (S (S (S (S (S (S (S (S (S (S (S (S
-      (S (S (S (S (S (S (S (S (S (S (S (S (S (S (S (S (S (S (S (S (S (S (S (S
-      (S (S (S (S (S (S (S (S (S (S (S (S (S (S (S
-      O)))))))))))))))))))))))))))))))))))))))))))))))))))))))))))))))))))))))))))))))))))))))
-      EmptyString []) :: ((mkcut (S (S (S (S (S (S (S (S (S (S (S (S (S (S (S
-                            (S (S (S (S (S (S (S (S (S (S (S (S (S (S (S (S
-                            (S (S (S (S (S (S (S (S (S (S (S (S (S (S (S (S
-                            (S (S (S (S (S (S (S (S (S (S (S (S (S (S (S (S
-                            (S (S (S (S (S (S (S (S (S (S (S (S (S (S (S (S
-                            (S (S (S (S (S (S (S (S
-                            O)))))))))))))))))))))))))))))))))))))))))))))))))))))))))))))))))))))))))))))))))))))))
-                            (S (S (S (S (S (S (S (S (S (S (S (S (S (S (S (S
-                            (S (S (S (S (S (S (S (S (S (S (S (S (S (S (S (S
-                            (S (S (S (S (S (S (S (S (S (S (S (S (S (S (S (S
-                            (S (S (S (S (S (S (S (S (S (S (S (S (S (S (S (S
-                            (S (S (S (S (S (S (S (S (S (S (S (S (S (S (S (S
-                            (S (S (S (S (S (S (S (S (S (S (S (S (S (S
-                            O))))))))))))))))))))))))))))))))))))))))))))))))))))))))))))))))))))))))))))))))))))))))))))))
-                            (String ((Ascii (true, false, true, false, false,
-                            false, true, false)), (String ((Ascii (false,
-                            true, true, true, false, true, true, false)),
-                            (String ((Ascii (false, false, true, false, true,
-                            true, true, false)), (String ((Ascii (false,
-                            true, false, false, true, true, true, false)),
-                            (String ((Ascii (true, false, false, true, true,
-                            true, true, false)), (String ((Ascii (false,
-                            false, true, false, false, false, true, false)),
-                            (String ((Ascii (true, false, true, false, false,
-                            true, true, false)), (String ((Ascii (false,
-                            false, true, false, true, true, true, false)),
-                            (String ((Ascii (true, false, false, false,
-                            false, true, true, false)), (String ((Ascii
-                            (true, false, false, true, false, true, true,
-                            false)), (String ((Ascii (false, false, true,
-                            true, false, true, true, false)), (String ((Ascii
-                            (true, true, false, false, true, false, true,
-                            false)), (String ((Ascii (true, false, true,
-                            false, false, true, true, false)), (String
-                            ((Ascii (true, false, false, false, true, true,
-                            true, false)), (String ((Ascii (true, false,
-                            true, false, true, true, true, false)), (String
-                            ((Ascii (true, false, true, false, false, true,
-                            true, false)), (String ((Ascii (false, true,
-                            true, true, false, true, true, false)), (String
-                            ((Ascii (true, true, false, false, false, true,
-                            true, false)), (String ((Ascii (true, false,
-                            true, false, false, true, true, false)), (String
-                            ((Ascii (false, true, true, true, false, false,
-                            true, false)), (String ((Ascii (true, false,
-                            true, false, true, true, true, false)), (String
-                            ((Ascii (true, false, true, true, false, true,
-                            true, false)), (String ((Ascii (false, true,
-                            false, false, false, true, true, false)), (String
-                            ((Ascii (true, false, true, false, false, true,
-                            true, false)), (String ((Ascii (false, true,
-                            false, false, true, true, true, false)),
-                            EmptyString))))))))))))))))))))))))))))))))))))))))))))))))))
-                            ((String ((Ascii (false, false, false, false,
-                            true, true, true, false)), (String ((Ascii (true,
-                            false, false, false, false, true, true, false)),
-                            (String ((Ascii (false, true, false, false, true,
-                            true, true, false)), (String ((Ascii (true, true,
-                            false, false, true, true, true, false)), (String
-                            ((Ascii (true, false, true, false, false, true,
-                            true, false)), (String ((Ascii (false, true,
-                            true, true, false, false, true, false)), (String
-                            ((Ascii (true, false, true, false, true, true,
-                            true, false)), (String ((Ascii (true, false,
-                            true, true, false, true, true, false)), (String
-                            ((Ascii (false, true, true, false, false, false,
-                            true, false)), (String ((Ascii (true, false,
-                            false, true, false, true, true, false)), (String
-                            ((Ascii (true, false, true, false, false, true,
-                            true, false)), (String ((Ascii (false, false,
-                            true, true, false, true, true, false)), (String
-                            ((Ascii (false, false, true, false, false, true,
-                            true, false)),
-                            EmptyString)))))))))))))))))))))))))) :: [])) :: [])))))) }
+let rec pad_loop p le k b =
+  match k with
+  | O -> (b, Cont)
+  | S k' ->
+    let (b1, e1) = bw_write b nines in
+    (match on_err p.p_pad_line e1 with
+     | Cont ->
+       let (b2, e2) = bw_write b1 le in
+       (match on_err p.p_pad_le e2 with
+        | Cont -> pad_loop p le k' b2
+        | Ret r -> (b2, (Ret r)))
+     | Ret r -> (b1, (Ret r)))
 
-(** val l_Addenda12 : layout **)
+(** val final_flush : wpolicy -> bw -> bw * werr option **)
 
-let l_Addenda12 =
-  { l_name = (String ((Ascii (true, false, false, false, false, false, true,
-    false)), (String ((Ascii (false, false, true, false, false, true, true,
-    false)), (String ((Ascii (false, false, true, false, false, true, true,
-    false)), (String ((Ascii (true, false, true, false, false, true, true,
-    false)), (String ((Ascii (false, true, true, true, false, true, true,
-    false)), (String ((Ascii (false, false, true, false, false, true, true,
-    false)), (String ((Ascii (true, false, false, false, false, true, true,
-    false)), (String ((Ascii (true, false, false, false, true, true, false,
-    false)), (String ((Ascii (false, true, false, false, true, true, false,
-    false)), EmptyString)))))))))))))))))); l_ix = IRune; l_segs = ((SLit
-    ((Npos (XI (XI (XI (XO (XI XH)))))) :: [])) :: ((SRaw (String ((Ascii
-    (false, false, true, false, true, false, true, false)), (String ((Ascii
-    (true, false, false, true, true, true, true, false)), (String ((Ascii
-    (false, false, false, false, true, true, true, false)), (String ((Ascii
-    (true, false, true, false, false, true, true, false)), (String ((Ascii
-    (true, true, false, false, false, false, true, false)), (String ((Ascii
-    (true, true, true, true, false, true, true, false)), (String ((Ascii
-    (false, false, true, false, false, true, true, false)), (String ((Ascii
-    (true, false, true, false, false, true, true, false)),
-    EmptyString))))))))))))))))) :: ((SAlpha ((String ((Ascii (true, true,
-    true, true, false, false, true, false)), (String ((Ascii (false, true,
-    false, false, true, true, true, false)), (String ((Ascii (true, false,
-    false, true, false, true, true, false)), (String ((Ascii (true, true,
-    true, false, false, true, true, false)), (String ((Ascii (true, false,
-    false, true, false, true, true, false)), (String ((Ascii (false, true,
-    true, true, false, true, true, false)), (String ((Ascii (true, false,
-    false, false, false, true, true, false)), (String ((Ascii (false, false,
-    true, false, true, true, true, false)), (String ((Ascii (true, true,
-    true, true, false, true, true, false)), (String ((Ascii (false, true,
-    false, false, true, true, true, false)), (String ((Ascii (true, true,
-    false, false, false, false, true, false)), (String ((Ascii (true, false,
-    false, true, false, true, true, false)), (String ((Ascii (false, false,
-    true, false, true, true, true, false)), (String ((Ascii (true, false,
-    false, true, true, true, true, false)), (String ((Ascii (true, true,
-    false, false, true, false, true, false)), (String ((Ascii (false, false,
-    true, false, true, true, true, false)), (String ((Ascii (true, false,
-    false, false, false, true, true, false)), (String ((Ascii (false, false,
-    true, false, true, true, true, false)), (String ((Ascii (true, false,
-    true, false, false, true, true, false)), (String ((Ascii (false, false,
-    false, false, true, false, true, false)), (String ((Ascii (false, true,
-    false, false, true, true, true, false)), (String ((Ascii (true, true,
-    true, true, false, true, true, false)), (String ((Ascii (false, true,
-    true, false, true, true, true, false)), (String ((Ascii (true, false,
-    false, true, false, true, true, false)), (String ((Ascii (false, true,
-    true, true, false, true, true, false)), (String ((Ascii (true, true,
-    false, false, false, true, true, false)), (String ((Ascii (true, false,
-    true, false, false, true, true, false)),
-    EmptyString)))))))))))))))))))))))))))))))))))))))))))))))))))))), (S (S
-    (S (S (S (S (S (S (S (S (S (S (S (S (S (S (S (S (S (S (S (S (S (S (S (S
-    (S (S (S (S (S (S (S (S (S
-    O))))))))))))))))))))))))))))))))))))) :: ((SAlpha ((String ((Ascii
-    (true, true, true, true, false, false, true, false)), (String ((Ascii
-    (false, true, false, false, true, true, true, false)), (String ((Ascii
-    (true, false, false, true, false, true, true, false)), (String ((Ascii
-    (true, true, true, false, false, true, true, false)), (String ((Ascii
-    (true, false, false, true, false, true, true, false)), (String ((Ascii
-    (false, true, true, true, false, true, true, false)), (String ((Ascii
-    (true, false, false, false, false, true, true, false)), (String ((Ascii
-    (false, false, true, false, true, true, true, false)), (String ((Ascii
-    (true, true, true, true, false, true, true, false)), (String ((Ascii
-    (false, true, false, false, true, true, true, false)), (String ((Ascii
-    (true, true, false, false, false, false, true, false)), (String ((Ascii
-    (true, true, true, true, false, true, true, false)), (String ((Ascii
-    (true, false, true, false, true, true, true, false)), (String ((Ascii
-    (false, true, true, true, false, true, true, false)), (String ((Ascii
-    (false, false, true, false, true, true, true, false)), (String ((Ascii
-    (false, true, false, false, true, true, true, false)), (String ((Ascii
-    (true, false, false, true, true, true, true, false)), (String ((Ascii
-    (false, false, false, false, true, false, true, false)), (String ((Ascii
-    (true, true, true, true, false, true, true, false)), (String ((Ascii
-    (true, true, false, false, true, true, true, false)), (String ((Ascii
-    (false, false, true, false, true, true, true, false)), (String ((Ascii
-    (true, false, false, false, false, true, true, false)), (String ((Ascii
-    (false, false, true, true, false, true, true, false)), (String ((Ascii
-    (true, true, false, false, false, false, true, false)), (String ((Ascii
-    (true, true, true, true, false, true, true, false)), (String ((Ascii
-    (false, false, true, false, false, true, true, false)), (String ((Ascii
-    (true, false, true, false, false, true, true, false)),
-    EmptyString)))))))))))))))))))))))))))))))))))))))))))))))))))))), (S (S
-    (S (S (S (S (S (S (S (S (S (S (S (S (S (S (S (S (S (S (S (S (S (S (S (S
-    (S (S (S (S (S (S (S (S (S
-    O))))))))))))))))))))))))))))))))))))) :: ((SLit ((Npos (XO (XO (XO (XO
-    (XO XH)))))) :: ((Npos (XO (XO (XO (XO (XO XH)))))) :: ((Npos (XO (XO (XO
-    (XO (XO XH)))))) :: ((Npos (XO (XO (XO (XO (XO XH)))))) :: ((Npos (XO (XO
-    (XO (XO (XO XH)))))) :: ((Npos (XO (XO (XO (XO (XO XH)))))) :: ((Npos (XO
-    (XO (XO (XO (XO XH)))))) :: ((Npos (XO (XO (XO (XO (XO XH)))))) :: ((Npos
-    (XO (XO (XO (XO (XO XH)))))) :: ((Npos (XO (XO (XO (XO (XO
-    XH)))))) :: ((Npos (XO (XO (XO (XO (XO XH)))))) :: ((Npos (XO (XO (XO (XO
-    (XO XH)))))) :: ((Npos (XO (XO (XO (XO (XO XH)))))) :: ((Npos (XO (XO (XO
-    (XO (XO XH)))))) :: []))))))))))))))) :: ((SNum ((String ((Ascii (true,
-    false, true, false, false, false, true, false)), (String ((Ascii (false,
-    true, true, true, false, true, true, false)), (String ((Ascii (false,
-    false, true, false, true, true, true, false)), (String ((Ascii (false,
-    true, false, false, true, true, true, false)), (String ((Ascii (true,
-    false, false, true, true, true, true, false)), (String ((Ascii (false,
-    false, true, false, false, false, true, false)), (String ((Ascii (true,
-    false, true, false, false, true, true, false)), (String ((Ascii (false,
-    false, true, false, true, true, true, false)), (String ((Ascii (true,
-    false, false, false, false, true, true, false)), (String ((Ascii (true,
-    false, false, true, false, true, true, false)), (String ((Ascii (false,
-    false, true, true, false, true, true, false)), (String ((Ascii (true,
-    true, false, false, true, false, true, false)), (String ((Ascii (true,
-    false, true, false, false, true, true, false)), (String ((Ascii (true,
-    false, false, false, true, true, true, false)), (String ((Ascii (true,
-    false, true, false, true, true, true, false)), (String ((Ascii (true,
-    false, true, false, false, true, true, false)), (String ((Ascii (false,
-    true, true, true, false, true, true, false)), (String ((Ascii (true,
-    true, false, false, false, true, true, false)), (String ((Ascii (true,
-    false, true, false, false, true, true, false)), (String ((Ascii (false,
-    true, true, true, false, false, true, false)), (String ((Ascii (true,
-    false, true, false, true, true, true, false)), (String ((Ascii (true,
-    false, true, true, false, true, true, false)), (String ((Ascii (false,
-    true, false, false, false, true, true, false)), (String ((Ascii (true,
-    false, true, false, false, true, true, false)), (String ((Ascii (false,
-    true, false, false, true, true, true, false)),
-    EmptyString)))))))))))))))))))))))))))))))))))))))))))))))))), (S (S (S
-    (S (S (S (S O))))))))) :: [])))))); l_cuts =
-    ((mkcut O (S O) EmptyString []) :: ((mkcut (S O) (S (S (S O))) (String
-                                          ((Ascii (false, false, true, false,
-                                          true, false, true, false)), (String
-                                          ((Ascii (true, false, false, true,
-                                          true, true, true, false)), (String
-                                          ((Ascii (false, false, false,
-                                          false, true, true, true, false)),
-                                          (String ((Ascii (true, false, true,
-                                          false, false, true, true, false)),
-                                          (String ((Ascii (true, true, false,
-                                          false, false, false, true, false)),
-                                          (String ((Ascii (true, true, true,
-                                          true, false, true, true, false)),
-                                          (String ((Ascii (false, false,
-                                          true, false, false, true, true,
-                                          false)), (String ((Ascii (true,
-                                          false, true, false, false, true,
-                                          true, false)),
-                                          EmptyString)))))))))))))))) []) :: (
-    (mkcut (S (S (S O))) (S (S (S (S (S (S (S (S (S (S (S (S (S (S (S (S (S
-      (S (S (S (S (S (S (S (S (S (S (S (S (S (S (S (S (S (S (S (S (S
-      O)))))))))))))))))))))))))))))))))))))) (String ((Ascii (true, true,
-      true, true, false, false, true, false)), (String ((Ascii (false, true,
-      false, false, true, true, true, false)), (String ((Ascii (true, false,
-      false, true, false, true, true, false)), (String ((Ascii (true, true,
-      true, false, false, true, true, false)), (String ((Ascii (true, false,
-      false, true, false, true, true, false)), (String ((Ascii (false, true,
-      true, true, false, true, true, false)), (String ((Ascii (true, false,
-      false, false, false, true, true, false)), (String ((Ascii (false,
-      false, true, false, true, true, true, false)), (String ((Ascii (true,
-      true, true, true, false, true, true, false)), (String ((Ascii (false,
-      true, false, false, true, true, true, false)), (String ((Ascii (true,
-      true, false, false, false, false, true, false)), (String ((Ascii (true,
-      false, false, true, false, true, true, false)), (String ((Ascii (false,
-      false, true, false, true, true, true, false)), (String ((Ascii (true,
-      false, false, true, true, true, true, false)), (String ((Ascii (true,
-      true, false, false, true, false, true, false)), (String ((Ascii (false,
-      false, true, false, true, true, true, false)), (String ((Ascii (true,
-      false, false, false, false, true, true, false)), (String ((Ascii
-      (false, false, true, false, true, true, true, false)), (String ((Ascii
-      (true, false, true, false, false, true, true, false)), (String ((Ascii
-      (false, false, false, false, true, false, true, false)), (String
-      ((Ascii (false, true, false, false, true, true, true, false)), (String
-      ((Ascii (true, true, true, true, false, true, true, false)), (String
-      ((Ascii (false, true, true, false, true, true, true, false)), (String
-      ((Ascii (true, false, false, true, false, true, true, false)), (String
-      ((Ascii (false, true, true, true, false, true, true, false)), (String
-      ((Ascii (true, true, false, false, false, true, true, false)), (String
-      ((Ascii (true, false, true, false, false, true, true, false)),
-      EmptyString))))))))))))))))))))))))))))))))))))))))))))))))))))))
-      ((String ((Ascii (true, true, false, false, true, true, true, false)),
-      (String ((Ascii (false, false, true, false, true, true, true, false)),
-      (String ((Ascii (false, true, false, false, true, true, true, false)),
-      (String ((Ascii (true, false, false, true, false, true, true, false)),
-      (String ((Ascii (false, true, true, true, false, true, true, false)),
-      (String ((Ascii (true, true, true, false, false, true, true, false)),
-      (String ((Ascii (true, true, false, false, true, true, true, false)),
-      (String ((Ascii (false, true, true, true, false, true, false, false)),
-      (String ((Ascii (false, false, true, false, true, false, true, false)),
-      (String ((Ascii (false, true, false, false, true, true, true, false)),
-      (String ((Ascii (true, false, false, true, false, true, true, false)),
-      (String ((Ascii (true, false, true, true, false, true, true, false)),
-      (String ((Ascii (true, true, false, false, true, false, true, false)),
-      (String ((Ascii (false, false, false, false, true, true, true, false)),
-      (String ((Ascii (true, false, false, false, false, true, true, false)),
-      (String ((Ascii (true, true, false, false, false, true, true, false)),
-      (String ((Ascii (true, false, true, false, false, true, true, false)),
-      EmptyString)))))))))))))))))))))))))))))))))) :: [])) :: ((mkcut (S (S
-                                                                  (S (S (S (S
-                                                                  (S (S (S (S
-                                                                  (S (S (S (S
-                                                                  (S (S (S (S
-                                                                  (S (S (S (S
-                                                                  (S (S (S (S
-                                                                  (S (S (S (S
-                                                                  (S (S (S (S
-                                                                  (S (S (S (S
-                                                                  O))))))))))))))))))))))))))))))))))))))
-                                                                  (S (S (S (S
-                                                                  (S (S (S (S
-                                                                  (S (S (S (S
-                                                                  (S (S (S (S
-                                                                  (S (S (S (S
-                                                                  (S (S (S (S
-                                                                  (S (S (S (S
-                                                                  (S (S (S (S
-                                                                  (S (S (S (S
-                                                                  (S (S (S (S
-                                                                  (S (S (S (S
-                                                                  (S (S (S (S
-                                                                  (S (S (S (S
-                                                                  (S (S (S (S
-                                                                  (S (S (S (S
-                                                                  (S (S (S (S
-                                                                  (S (S (S (S
-                                                                  (S (S (S (S
-                                                                  (S
-                                                                  O)))))))))))))))))))))))))))))))))))))))))))))))))))))))))))))))))))))))))
-                                                                  (String
-                                                                  ((Ascii
-                                                                  (true,
-                                                                  true, true,
-                                                                  true,
-                                                                  false,
-                                                                  false,
-                                                                  true,
-                                                                  false)),
-                                                                  (String
-                                                                  ((Ascii
-                                                                  (false,
-                                                                  true,
-                                                                  false,
-                                                                  false,
-                                                                  true, true,
-                                                                  true,
-                                                                  false)),
-                                                                  (String
-                                                                  ((Ascii
-                                                                  (true,
-                                                                  false,
-                                                                  false,
-                                                                  true,
-                                                                  false,
-                                                                  true, true,
-                                                                  false)),
-                                                                  (String
-                                                                  ((Ascii
-                                                                  (true,
-                                                                  true, true,
-                                                                  false,
-                                                                  false,
-                                                                  true, true,
-                                                                  false)),
-                                                                  (String
-                                                                  ((Ascii
-                                                                  (true,
-                                                                  false,
-                                                                  false,
-                                                                  true,
-                                                                  false,
-                                                                  true, true,
-                                                                  false)),
-                                                                  (String
-                                                                  ((Ascii
-                                                                  (false,
-                                                                  true, true,
-                                                                  true,
-                                                                  false,
-                                                                  true, true,
-                                                                  false)),
-                                                                  (String
-                                                                  ((Ascii
-                                                                  (true,
-                                                                  false,
-                                                                  false,
-                                                                  false,
-                                                                  false,
-                                                                  true, true,
-                                                                  false)),
-                                                                  (String
-                                                                  ((Ascii
-                                                                  (false,
-                                                                  false,
-                                                                  true,
-                                                                  false,
-                                                                  true, true,
-                                                                  true,
-                                                                  false)),
-                                                                  (String
-                                                                  ((Ascii
-                                                                  (true,
-                                                                  true, true,
-                                                                  true,
-                                                                  false,
-                                                                  true, true,
-                                                                  false)),
-                                                                  (String
-                                                                  ((Ascii
-                                                                  (false,
-                                                                  true,
-                                                                  false,
-                                                                  false,
-                                                                  true, true,
-                                                                  true,
-                                                                  false)),
-                                                                  (String
-                                                                  ((Ascii
-                                                                  (true,
-                                                                  true,
-                                                                  false,
-                                                                  false,
-                                                                  false,
-                                                                  false,
-                                                                  true,
-                                                                  false)),
-                                                                  (String
-                                                                  ((Ascii
-                                                                  (true,
-                                                                  true, true,
-                                                                  true,
-                                                                  false,
-                                                                  true, true,
-                                                                  false)),
-                                                                  (String
-                                                                  ((Ascii
-                                                                  (true,
-                                                                  false,
-                                                                  true,
-                                                                  false,
-                                                                  true, true,
-                                                                  true,
-                                                                  false)),
-                                                                  (String
-                                                                  ((Ascii
-                                                                  (false,
-                                                                  true, true,
-                                                                  true,
-                                                                  false,
-                                                                  true, true,
-                                                                  false)),
-                                                                  (String
-                                                                  ((Ascii
-                                                                  (false,
-                                                                  false,
-                                                                  true,
-                                                                  false,
-                                                                  true, true,
-                                                                  true,
-                                                                  false)),
-                                                                  (String
-                                                                  ((Ascii
-                                                                  (false,
-                                                                  true,
-                                                                  false,
-                                                                  false,
-                                                                  true, true,
-                                                                  true,
-                                                                  false)),
-                                                                  (String
-                                                                  ((Ascii
-                                                                  (true,
-                                                                  false,
-                                                                  false,
-                                                                  true, true,
-                                                                  true, true,
-                                                                  false)),
-                                                                  (String
-                                                                  ((Ascii
-                                                                  (false,
-                                                                  false,
-                                                                  false,
-                                                                  false,
-                                                                  true,
-                                                                  false,
-                                                                  true,
-                                                                  false)),
-                                                                  (String
-                                                                  ((Ascii
-                                                                  (true,
-                                                                  true, true,
-                                                                  true,
-                                                                  false,
-                                                                  true, true,
-                                                                  false)),
-                                                                  (String
-                                                                  ((Ascii
-                                                                  (true,
-                                                                  true,
-                                                                  false,
-                                                                  false,
-                                                                  true, true,
-                                                                  true,
-                                                                  false)),
-                                                                  (String
-                                                                  ((Ascii
-                                                                  (false,
-                                                                  false,
-                                                                  true,
-                                                                  false,
-                                                                  true, true,
-                                                                  true,
-                                                                  false)),
-                                                                  (String
-                                                                  ((Ascii
-                                                                  (true,
-                                                                  false,
-                                                                  false,
-                                                                  false,
-                                                                  false,
-                                                                  true, true,
-                                                                  false)),
-                                                                  (String
-                                                                  ((Ascii
-                                                                  (false,
-                                                                  false,
-                                                                  true, true,
-                                                                  false,
-                                                                  true, true,
-                                                                  false)),
-                                                                  (String
-                                                                  ((Ascii
-                                                                  (true,
-                                                                  true,
-                                                                  false,
-                                                                  false,
-                                                                  false,
-                                                                  false,
-                                                                  true,
-                                                                  false)),
-                                                                  (String
-                                                                  ((Ascii
-                                                                  (true,
-                                                                  true, true,
-                                                                  true,
-                                                                  false,
-                                                                  true, true,
-                                                                  false)),
-                                                                  (String
-                                                                  ((Ascii
-                                                                  (false,
-                                                                  false,
-                                                                  true,
-                                                                  false,
-                                                                  false,
-                                                                  true, true,
-                                                                  false)),
-                                                                  (String
-                                                                  ((Ascii
-                                                                  (true,
-                                                                  false,
-                                                                  true,
-                                                                  false,
-                                                                  false,
-                                                                  true, true,
-                                                                  false)),
-                                                                  EmptyString))))))))))))))))))))))))))))))))))))))))))))))))))))))
-                                                                  ((String
-                                                                  ((Ascii
-                                                                  (true,
-                                                                  true,
-                                                                  false,
-                                                                  false,
-                                                                  true, true,
-                                                                  true,
-                                                                  false)),
-                                                                  (String
-                                                                  ((Ascii
-                                                                  (false,
-                                                                  false,
-                                                                  true,
-                                                                  false,
-                                                                  true, true,
-                                                                  true,
-                                                                  false)),
-                                                                  (String
-                                                                  ((Ascii
-                                                                  (false,
-                                                                  true,
-                                                                  false,
-                                                                  false,
-                                                                  true, true,
-                                                                  true,
-                                                                  false)),
-                                                                  (String
-                                                                  ((Ascii
-                                                                  (true,
-                                                                  false,
-                                                                  false,
-                                                                  true,
-                                                                  false,
-                                                                  true, true,
-                                                                  false)),
-                                                                  (String
-                                                                  ((Ascii
-                                                                  (false,
-                                                                  true, true,
-                                                                  true,
-                                                                  false,
-                                                                  true, true,
-                                                                  false)),
-                                                                  (String
-                                                                  ((Ascii
-                                                                  (true,
-                                                                  true, true,
-                                                                  false,
-                                                                  false,
-                                                                  true, true,
-                                                                  false)),
-                                                                  (String
-                                                                  ((Ascii
-                                                                  (true,
-                                                                  true,
-                                                                  false,
-                                                                  false,
-                                                                  true, true,
-                                                                  true,
-                                                                  false)),
-                                                                  (String
-                                                                  ((Ascii
-                                                                  (false,
-                                                                  true, true,
-                                                                  true,
-                                                                  false,
-                                                                  true,
-                                                                  false,
-                                                                  false)),
-                                                                  (String
-                                                                  ((Ascii
-                                                                  (false,
-                                                                  false,
-                                                                  true,
-                                                                  false,
-                                                                  true,
-                                                                  false,
-                                                                  true,
-                                                                  false)),
-                                                                  (String
-                                                                  ((Ascii
-                                                                  (false,
-                                                                  true,
-                                                                  false,
-                                                                  false,
-                                                                  true, true,
-                                                                  true,
-                                                                  false)),
-                                                                  (String
-                                                                  ((Ascii
-                                                                  (true,
-                                                                  false,
-                                                                  false,
-                                                                  true,
-                                                                  false,
-                                                                  true, true,
-                                                                  false)),
-                                                                  (String
-                                                                  ((Ascii
-                                                                  (true,
-                                                                  false,
-                                                                  true, true,
-                                                                  false,
-                                                                  true, true,
-                                                                  false)),
-                                                                  (String
-                                                                  ((Ascii
-                                                                  (true,
-                                                                  true,
-                                                                  false,
-                                                                  false,
-                                                                  true,
-                                                                  false,
-                                                                  true,
-                                                                  false)),
-                                                                  (String
-                                                                  ((Ascii
-                                                                  (false,
-                                                                  false,
-                                                                  false,
-                                                                  false,
-                                                                  true, true,
-                                                                  true,
-                                                                  false)),
-                                                                  (String
-                                                                  ((Ascii
-                                                                  (true,
-                                                                  false,
-                                                                  false,
-                                                                  false,
-                                                                  false,
-                                                                  true, true,
-                                                                  false)),
-                                                                  (String
-                                                                  ((Ascii
-                                                                  (true,
-                                                                  true,
-                                                                  false,
-                                                                  false,
-                                                                  false,
-                                                                  true, true,
-                                                                  false)),
-                                                                  (String
-                                                                  ((Ascii
-                                                                  (true,
-                                                                  false,
-                                                                  true,
-                                                                  false,
-                                                                  false,
-                                                                  true, true,
-                                                                  false)),
-                                                                  EmptyString)))))))))))))))))))))))))))))))))) :: [])) :: (
-    (mkcut (S (S (S (S (S (S (S (S (S (S (S (S (S (S (S (S (S (S (S (S (S (S
-      (S (S (S (S (S (S (S (S (S (S (S (S (S (S (S (S (S (S (S (S (S (S (S (S
-      (S (S (S (S (S (S (S (S (S (S (S (S (S (S (S (S (S (S (S (S (S (S (S (S
-      (S (S (S
-      O)))))))))))))))))))))))))))))))))))))))))))))))))))))))))))))))))))))))))
-      (S (S (S (S (S (S (S (S (S (S (S (S (S (S (S (S (S (S (S (S (S (S (S (S
-      (S (S (S (S (S (S (S (S (S (S (S (S (S (S (S (S (S (S (S (S (S (S (S (S
-      (S (S (S (S (S (S (S (S (S (S (S (S (S (S (S (S (S (S (S (S (S (S (S (S
-      (S (S (S (S (S (S (S (S (S (S (S (S (S (S (S
-      O)))))))))))))))))))))))))))))))))))))))))))))))))))))))))))))))))))))))))))))))))))))))
-      EmptyString []) :: ((mkcut (S (S (S (S (S (S (S (S (S (S (S (S (S (S (S
-                            (S (S (S (S (S (S (S (S (S (S (S (S (S (S (S (S
-                            (S (S (S (S (S (S (S (S (S (S (S (S (S (S (S (S
-                            (S (S (S (S (S (S (S (S (S (S (S (S (S (S (S (S
-                            (S (S (S (S (S (S (S (S (S (S (S (S (S (S (S (S
-                            (S (S (S (S (S (S (S (S
-                            O)))))))))))))))))))))))))))))))))))))))))))))))))))))))))))))))))))))))))))))))))))))))
-                            (S (S (S (S (S (S (S (S (S (S (S (S (S (S (S (S
-                            (S (S (S (S (S (S (S (S (S (S (S (S (S (S (S (S
-                            (S (S (S (S (S (S (S (S (S (S (S (S (S (S (S (S
-                            (S (S (S (S (S (S (S (S (S (S (S (S (S (S (S (S
-                            (S (S (S (S (S (S (S (S (S (S (S (S (S (S (S (S
-                            (S (S (S (S (S (S (S (S (S (S (S (S (S (S
-                            O))))))))))))))))))))))))))))))))))))))))))))))))))))))))))))))))))))))))))))))))))))))))))))))
-                            (String ((Ascii (true, false, true, false, false,
-                            false, true, false)), (String ((Ascii (false,
-                            true, true, true, false, true, true, false)),
-                            (String ((Ascii (false, false, true, false, true,
-                            true, true, false)), (String ((Ascii (false,
-                            true, false, false, true, true, true, false)),
-                            (String ((Ascii (true, false, false, true, true,
-                            true, true, false)), (String ((Ascii (false,
-                            false, true, false, false, false, true, false)),
-                            (String ((Ascii (true, false, true, false, false,
-                            true, true, false)), (String ((Ascii (false,
-                            false, true, false, true, true, true, false)),
-                            (String ((Ascii (true, false, false, false,
-                            false, true, true, false)), (String ((Ascii
-                            (true, false, false, true, false, true, true,
-                            false)), (String ((Ascii (false, false, true,
-                            true, false, true, true, false)), (String ((Ascii
-                            (true, true, false, false, true, false, true,
-                            false)), (String ((Ascii (true, false, true,
-                            false, false, true, true, false)), (String
-                            ((Ascii (true, false, false, false, true, true,
-                            true, false)), (String ((Ascii (true, false,
-                            true, false, true, true, true, false)), (String
-                            ((Ascii (true, false, true, false, false, true,
-                            true, false)), (String ((Ascii (false, true,
-                            true, true, false, true, true, false)), (String
-                            ((Ascii (true, true, false, false, false, true,
-                            true, false)), (String ((Ascii (true, false,
-                            true, false, false, true, true, false)), (String
-                            ((Ascii (false, true, true, true, false, false,
-                            true, false)), (String ((Ascii (true, false,
-                            true, false, true, true, true, false)), (String
-                            ((Ascii (true, false, true, true, false, true,
-                            true, false)), (String ((Ascii (false, true,
-                            false, false, false, true, true, false)), (String
-                            ((Ascii (true, false, true, false, false, true,
-                            true, false)), (String ((Ascii (false, true,
-                            false, false, true, true, true, false)),
-                            EmptyString))))))))))))))))))))))))))))))))))))))))))))))))))
-                            ((String ((Ascii (false, false, false, false,
-                            true, true, true, false)), (String ((Ascii (true,
-                            false, false, false, false, true, true, false)),
-                            (String ((Ascii (false, true, false, false, true,
-                            true, true, false)), (String ((Ascii (true, true,
-                            false, false, true, true, true, false)), (String
-                            ((Ascii (true, false, true, false, false, true,
-                            true, false)), (String ((Ascii (false, true,
-                            true, true, false, false, true, false)), (String
-                            ((Ascii (true, false, true, false, true, true,
-                            true, false)), (String ((Ascii (true, false,
-                            true, true, false, true, true, false)), (String
-                            ((Ascii (false, true, true, false, false, false,
-                            true, false)), (String ((Ascii (true, false,
-                            false, true, false, true, true, false)), (String
-                            ((Ascii (true, false, true, false, false, true,
-                            true, false)), (String ((Ascii (false, false,
-                            true, true, false, true, true, false)), (String
-                            ((Ascii (false, false, true, false, false, true,
-                            true, false)),
-                            EmptyString)))))))))))))))))))))))))) :: [])) :: [])))))) }
+let final_flush p b =
+  match p.p_final with
+  | Propagate -> bw_flush b
+  | Absent -> (b, None)
+  | _ -> let (b', _) = bw_flush b in (b', None)
 
-(** val l_Addenda13 : layout **)
+(** val write_file :
+    wpolicy -> bytes -> (rtag * bytes) list -> bw -> bw * werr option **)
 
-let l_Addenda13 =
-  { l_name = (String ((Ascii (true, false, false, false, false, false, true,
-    false)), (String ((Ascii (false, false, true, false, false, true, true,
-    false)), (String ((Ascii (false, false, true, false, false, true, true,
-    false)), (String ((Ascii (true, false, true, false, false, true, true,
-    false)), (String ((Ascii (false, true, true, true, false, true, true,
-    false)), (String ((Ascii (false, false, true, false, false, true, true,
-    false)), (String ((Ascii (true, false, false, false, false, true, true,
-    false)), (String ((Ascii (true, false, false, false, true, true, false,
-    false)), (String ((Ascii (true, true, false, false, true, true, false,
-    false)), EmptyString)))))))))))))))))); l_ix = IRune; l_segs = ((SLit
-    ((Npos (XI (XI (XI (XO (XI XH)))))) :: [])) :: ((SRaw (String ((Ascii
-    (false, false, true, false, true, false, true, false)), (String ((Ascii
-    (true, false, false, true, true, true, true, false)), (String ((Ascii
-    (false, false, false, false, true, true, true, false)), (String ((Ascii
-    (true, false, true, false, false, true, true, false)), (String ((Ascii
-    (true, true, false, false, false, false, true, false)), (String ((Ascii
-    (true, true, true, true, false, true, true, false)), (String ((Ascii
-    (false, false, true, false, false, true, true, false)), (String ((Ascii
-    (true, false, true, false, false, true, true, false)),
-    EmptyString))))))))))))))))) :: ((SAlpha ((String ((Ascii (true, true,
-    true, true, false, false, true, false)), (String ((Ascii (false, false,
-    true, false, false, false, true, false)), (String ((Ascii (false, true,
-    true, false, false, false, true, false)), (String ((Ascii (true, false,
-    false, true, false, false, true, false)), (String ((Ascii (false, true,
-    true, true, false, false, true, false)), (String ((Ascii (true, false,
-    false, false, false, true, true, false)), (String ((Ascii (true, false,
-    true, true, false, true, true, false)), (String ((Ascii (true, false,
-    true, false, false, true, true, false)), EmptyString)))))))))))))))), (S
-    (S (S (S (S (S (S (S (S (S (S (S (S (S (S (S (S (S (S (S (S (S (S (S (S
-    (S (S (S (S (S (S (S (S (S (S
-    O))))))))))))))))))))))))))))))))))))) :: ((SAlpha ((String ((Ascii
-    (true, true, true, true, false, false, true, false)), (String ((Ascii
-    (false, false, true, false, false, false, true, false)), (String ((Ascii
-    (false, true, true, false, false, false, true, false)), (String ((Ascii
-    (true, false, false, true, false, false, true, false)), (String ((Ascii
-    (true, false, false, true, false, false, true, false)), (String ((Ascii
-    (false, false, true, false, false, false, true, false)), (String ((Ascii
-    (false, true, true, true, false, false, true, false)), (String ((Ascii
-    (true, false, true, false, true, true, true, false)), (String ((Ascii
-    (true, false, true, true, false, true, true, false)), (String ((Ascii
-    (false, true, false, false, false, true, true, false)), (String ((Ascii
-    (true, false, true, false, false, true, true, false)), (String ((Ascii
-    (false, true, false, false, true, true, true, false)), (String ((Ascii
-    (true, false, false, false, true, false, true, false)), (String ((Ascii
-    (true, false, true, false, true, true, true, false)), (String ((Ascii
-    (true, false, false, false, false, true, true, false)), (String ((Ascii
-    (false, false, true, true, false, true, true, false)), (String ((Ascii
-    (true, false, false, true, false, true, true, false)), (String ((Ascii
-    (false, true, true, false, false, true, true, false)), (String ((Ascii
-    (true, false, false, true, false, true, true, false)), (String ((Ascii
-    (true, false, true, false, false, true, true, false)), (String ((Ascii
-    (false, true, false, false, true, true, true, false)),
-    EmptyString)))))))))))))))))))))))))))))))))))))))))), (S (S
-    O)))) :: ((SAlpha ((String ((Ascii (true, true, true, true, false, false,
-    true, false)), (String ((Ascii (false, false, true, false, false, false,
-    true, false)), (String ((Ascii (false, true, true, false, false, false,
-    true, false)), (String ((Ascii (true, false, false, true, false, false,
-    true, false)), (String ((Ascii (true, false, false, true, false, false,
-    true, false)), (String ((Ascii (false, false, true, false, false, true,
-    true, false)), (String ((Ascii (true, false, true, false, false, true,
-    true, false)), (String ((Ascii (false, true, true, true, false, true,
-    true, false)), (String ((Ascii (false, false, true, false, true, true,
-    true, false)), (String ((Ascii (true, false, false, true, false, true,
-    true, false)), (String ((Ascii (false, true, true, false, false, true,
-    true, false)), (String ((Ascii (true, false, false, true, false, true,
-    true, false)), (String ((Ascii (true, true, false, false, false, true,
-    true, false)), (String ((Ascii (true, false, false, false, false, true,
-    true, false)), (String ((Ascii (false, false, true, false, true, true,
-    true, false)), (String ((Ascii (true, false, false, true, false, true,
-    true, false)), (String ((Ascii (true, true, true, true, false, true,
-    true, false)), (String ((Ascii (false, true, true, true, false, true,
-    true, false)), EmptyString)))))))))))))))))))))))))))))))))))), (S (S (S
-    (S (S (S (S (S (S (S (S (S (S (S (S (S (S (S (S (S (S (S (S (S (S (S (S
-    (S (S (S (S (S (S (S O)))))))))))))))))))))))))))))))))))) :: ((SAlpha
-    ((String ((Ascii (true, true, true, true, false, false, true, false)),
-    (String ((Ascii (false, false, true, false, false, false, true, false)),
-    (String ((Ascii (false, true, true, false, false, false, true, false)),
-    (String ((Ascii (true, false, false, true, false, false, true, false)),
-    (String ((Ascii (false, true, false, false, false, false, true, false)),
-    (String ((Ascii (false, true, false, false, true, true, true, false)),
-    (String ((Ascii (true, false, false, false, false, true, true, false)),
-    (String ((Ascii (false, true, true, true, false, true, true, false)),
-    (String ((Ascii (true, true, false, false, false, true, true, false)),
-    (String ((Ascii (false, false, false, true, false, true, true, false)),
-    (String ((Ascii (true, true, false, false, false, false, true, false)),
-    (String ((Ascii (true, true, true, true, false, true, true, false)),
-    (String ((Ascii (true, false, true, false, true, true, true, false)),
-    (String ((Ascii (false, true, true, true, false, true, true, false)),
-    (String ((Ascii (false, false, true, false, true, true, true, false)),
-    (String ((Ascii (false, true, false, false, true, true, true, false)),
-    (String ((Ascii (true, false, false, true, true, true, true, false)),
-    (String ((Ascii (true, true, false, false, false, false, true, false)),
-    (String ((Ascii (true, true, true, true, false, true, true, false)),
-    (String ((Ascii (false, false, true, false, false, true, true, false)),
-    (String ((Ascii (true, false, true, false, false, true, true, false)),
-    EmptyString)))))))))))))))))))))))))))))))))))))))))), (S (S (S
-    O))))) :: ((SLit ((Npos (XO (XO (XO (XO (XO XH)))))) :: ((Npos (XO (XO
-    (XO (XO (XO XH)))))) :: ((Npos (XO (XO (XO (XO (XO XH)))))) :: ((Npos (XO
-    (XO (XO (XO (XO XH)))))) :: ((Npos (XO (XO (XO (XO (XO XH)))))) :: ((Npos
-    (XO (XO (XO (XO (XO XH)))))) :: ((Npos (XO (XO (XO (XO (XO
-    XH)))))) :: ((Npos (XO (XO (XO (XO (XO XH)))))) :: ((Npos (XO (XO (XO (XO
-    (XO XH)))))) :: ((Npos (XO (XO (XO (XO (XO
-    XH)))))) :: []))))))))))) :: ((SNum ((String ((Ascii (true, false, true,
-    false, false, false, true, false)), (String ((Ascii (false, true, true,
-    true, false, true, true, false)), (String ((Ascii (false, false, true,
-    false, true, true, true, false)), (String ((Ascii (false, true, false,
-    false, true, true, true, false)), (String ((Ascii (true, false, false,
-    true, true, true, true, false)), (String ((Ascii (false, false, true,
-    false, false, false, true, false)), (String ((Ascii (true, false, true,
-    false, false, true, true, false)), (String ((Ascii (false, false, true,
-    false, true, true, true, false)), (String ((Ascii (true, false, false,
-    false, false, true, true, false)), (String ((Ascii (true, false, false,
-    true, false, true, true, false)), (String ((Ascii (false, false, true,
-    true, false, true, true, false)), (String ((Ascii (true, true, false,
-    false, true, false, true, false)), (String ((Ascii (true, false, true,
-    false, false, true, true, false)), (String ((Ascii (true, false, false,
-    false, true, true, true, false)), (String ((Ascii (true, false, true,
-    false, true, true, true, false)), (String ((Ascii (true, false, true,
-    false, false, true, true, false)), (String ((Ascii (false, true, true,
-    true, false, true, true, false)), (String ((Ascii (true, true, false,
-    false, false, true, true, false)), (String ((Ascii (true, false, true,
-    false, false, true, true, false)), (String ((Ascii (false, true, true,
-    true, false, false, true, false)), (String ((Ascii (true, false, true,
-    false, true, true, true, false)), (String ((Ascii (true, false, true,
-    true, false, true, true, false)), (String ((Ascii (false, true, false,
-    false, false, true, true, false)), (String ((Ascii (true, false, true,
-    false, false, true, true, false)), (String ((Ascii (false, true, false,
-    false, true, true, true, false)),
-    EmptyString)))))))))))))))))))))))))))))))))))))))))))))))))), (S (S (S
-    (S (S (S (S O))))))))) :: [])))))))); l_cuts =
-    ((mkcut O (S O) EmptyString []) :: ((mkcut (S O) (S (S (S O))) (String
-                                          ((Ascii (false, false, true, false,
-                                          true, false, true, false)), (String
-                                          ((Ascii (true, false, false, true,
-                                          true, true, true, false)), (String
-                                          ((Ascii (false, false, false,
-                                          false, true, true, true, false)),
-                                          (String ((Ascii (true, false, true,
-                                          false, false, true, true, false)),
-                                          (String ((Ascii (true, true, false,
-                                          false, false, false, true, false)),
-                                          (String ((Ascii (true, true, true,
-                                          true, false, true, true, false)),
-                                          (String ((Ascii (false, false,
-                                          true, false, false, true, true,
-                                          false)), (String ((Ascii (true,
-                                          false, true, false, false, true,
-                                          true, false)),
-                                          EmptyString)))))))))))))))) []) :: (
-    (mkcut (S (S (S O))) (S (S (S (S (S (S (S (S (S (S (S (S (S (S (S (S (S
-      (S (S (S (S (S (S (S (S (S (S (S (S (S (S (S (S (S (S (S (S (S
-      O)))))))))))))))))))))))))))))))))))))) (String ((Ascii (true, true,
-      true, true, false, false, true, false)), (String ((Ascii (false, false,
-      true, false, false, false, true, false)), (String ((Ascii (false, true,
-      true, false, false, false, true, false)), (String ((Ascii (true, false,
-      false, true, false, false, true, false)), (String ((Ascii (false, true,
-      true, true, false, false, true, false)), (String ((Ascii (true, false,
-      false, false, false, true, true, false)), (String ((Ascii (true, false,
-      true, true, false, true, true, false)), (String ((Ascii (true, false,
-      true, false, false, true, true, false)), EmptyString))))))))))))))))
-      ((String ((Ascii (true, true, false, false, true, true, true, false)),
-      (String ((Ascii (false, false, true, false, true, true, true, false)),
-      (String ((Ascii (false, true, false, false, true, true, true, false)),
-      (String ((Ascii (true, false, false, true, false, true, true, false)),
-      (String ((Ascii (false, true, true, true, false, true, true, false)),
-      (String ((Ascii (true, true, true, false, false, true, true, false)),
-      (String ((Ascii (true, true, false, false, true, true, true, false)),
-      (String ((Ascii (false, true, true, true, false, true, false, false)),
-      (String ((Ascii (false, false, true, false, true, false, true, false)),
-      (String ((Ascii (false, true, false, false, true, true, true, false)),
-      (String ((Ascii (true, false, false, true, false, true, true, false)),
-      (String ((Ascii (true, false, true, true, false, true, true, false)),
-      (String ((Ascii (true, true, false, false, true, false, true, false)),
-      (String ((Ascii (false, false, false, false, true, true, true, false)),
-      (String ((Ascii (true, false, false, false, false, true, true, false)),
-      (String ((Ascii (true, true, false, false, false, true, true, false)),
-      (String ((Ascii (true, false, true, false, false, true, true, false)),
-      EmptyString)))))))))))))))))))))))))))))))))) :: [])) :: ((mkcut (S (S
-                                                                  (S (S (S (S
-                                                                  (S (S (S (S
-                                                                  (S (S (S (S
-                                                                  (S (S (S (S
-                                                                  (S (S (S (S
-                                                                  (S (S (S (S
-                                                                  (S (S (S (S
-                                                                  (S (S (S (S
-                                                                  (S (S (S (S
-                                                                  O))))))))))))))))))))))))))))))))))))))
-                                                                  (S (S (S (S
-                                                                  (S (S (S (S
-                                                                  (S (S (S (S
-                                                                  (S (S (S (S
-                                                                  (S (S (S (S
-                                                                  (S (S (S (S
-                                                                  (S (S (S (S
-                                                                  (S (S (S (S
-                                                                  (S (S (S (S
-                                                                  (S (S (S (S
-                                                                  O))))))))))))))))))))))))))))))))))))))))
-                                                                  (String
-                                                                  ((Ascii
-                                                                  (true,
-                                                                  true, true,
-                                                                  true,
-                                                                  false,
-                                                                  false,
-                                                                  true,
-                                                                  false)),
-                                                                  (String
-                                                                  ((Ascii
-                                                                  (false,
-                                                                  false,
-                                                                  true,
-                                                                  false,
-                                                                  false,
-                                                                  false,
-                                                                  true,
-                                                                  false)),
-                                                                  (String
-                                                                  ((Ascii
-                                                                  (false,
-                                                                  true, true,
-                                                                  false,
-                                                                  false,
-                                                                  false,
-                                                                  true,
-                                                                  false)),
-                                                                  (String
-                                                                  ((Ascii
-                                                                  (true,
-                                                                  false,
-                                                                  false,
-                                                                  true,
-                                                                  false,
-                                                                  false,
-                                                                  true,
-                                                                  false)),
-                                                                  (String
-                                                                  ((Ascii
-                                                                  (true,
-                                                                  false,
-                                                                  false,
-                                                                  true,
-                                                                  false,
-                                                                  false,
-                                                                  true,
-                                                                  false)),
-                                                                  (String
-                                                                  ((Ascii
-                                                                  (false,
-                                                                  false,
-                                                                  true,
-                                                                  false,
-                                                                  false,
-                                                                  false,
-                                                                  true,
-                                                                  false)),
-                                                                  (String
-                                                                  ((Ascii
-                                                                  (false,
-                                                                  true, true,
-                                                                  true,
-                                                                  false,
-                                                                  false,
-                                                                  true,
-                                                                  false)),
-                                                                  (String
-                                                                  ((Ascii
-                                                                  (true,
-                                                                  false,
-                                                                  true,
-                                                                  false,
-                                                                  true, true,
-                                                                  true,
-                                                                  false)),
-                                                                  (String
-                                                                  ((Ascii
-                                                                  (true,
-                                                                  false,
-                                                                  true, true,
-                                                                  false,
-                                                                  true, true,
-                                                                  false)),
-                                                                  (String
-                                                                  ((Ascii
-                                                                  (false,
-                                                                  true,
-                                                                  false,
-                                                                  false,
-                                                                  false,
-                                                                  true, true,
-                                                                  false)),
-                                                                  (String
-                                                                  ((Ascii
-                                                                  (true,
-                                                                  false,
-                                                                  true,
-                                                                  false,
-                                                                  false,
-                                                                  true, true,
-                                                                  false)),
-                                                                  (String
-                                                                  ((Ascii
-                                                                  (false,
-                                                                  true,
-                                                                  false,
-                                                                  false,
-                                                                  true, true,
-                                                                  true,
-                                                                  false)),
-                                                                  (String
-                                                                  ((Ascii
-                                                                  (true,
-                                                                  false,
-                                                                  false,
-                                                                  false,
-                                                                  true,
-                                                                  false,
-                                                                  true,
-                                                                  false)),
-                                                                  (String
-                                                                  ((Ascii
-                                                                  (true,
-                                                                  false,
-                                                                  true,
-                                                                  false,
-                                                                  true, true,
-                                                                  true,
-                                                                  false)),
-                                                                  (String
-                                                                  ((Ascii
-                                                                  (true,
-                                                                  false,
-                                                                  false,
-                                                                  false,
-                                                                  false,
-                                                                  true, true,
-                                                                  false)),
-                                                                  (String
-                                                                  ((Ascii
-                                                                  (false,
-                                                                  false,
-                                                                  true, true,
-                                                                  false,
-                                                                  true, true,
-                                                                  false)),
-                                                                  (String
-                                                                  ((Ascii
-                                                                  (true,
-                                                                  false,
-                                                                  false,
-                                                                  true,
-                                                                  false,
-                                                                  true, true,
-                                                                  false)),
-                                                                  (String
-                                                                  ((Ascii
-                                                                  (false,
-                                                                  true, true,
-                                                                  false,
-                                                                  false,
-                                                                  true, true,
-                                                                  false)),
-                                                                  (String
-                                                                  ((Ascii
-                                                                  (true,
-                                                                  false,
-                                                                  false,
-                                                                  true,
-                                                                  false,
-                                                                  true, true,
-                                                                  false)),
-                                                                  (String
-                                                                  ((Ascii
-                                                                  (true,
-                                                                  false,
-                                                                  true,
-                                                                  false,
-                                                                  false,
-                                                                  true, true,
-                                                                  false)),
-                                                                  (String
-                                                                  ((Ascii
-                                                                  (false,
-                                                                  true,
-                                                                  false,
-                                                                  false,
-                                                                  true, true,
-                                                                  true,
-                                                                  false)),
-                                                                  EmptyString))))))))))))))))))))))))))))))))))))))))))
-                                                                  []) :: (
-    (mkcut (S (S (S (S (S (S (S (S (S (S (S (S (S (S (S (S (S (S (S (S (S (S
-      (S (S (S (S (S (S (S (S (S (S (S (S (S (S (S (S (S (S
-      O)))))))))))))))))))))))))))))))))))))))) (S (S (S (S (S (S (S (S (S (S
-      (S (S (S (S (S (S (S (S (S (S (S (S (S (S (S (S (S (S (S (S (S (S (S (S
-      (S (S (S (S (S (S (S (S (S (S (S (S (S (S (S (S (S (S (S (S (S (S (S (S
-      (S (S (S (S (S (S (S (S (S (S (S (S (S (S (S (S
-      O))))))))))))))))))))))))))))))))))))))))))))))))))))))))))))))))))))))))))
-      (String ((Ascii (true, true, true, true, false, false, true, false)),
-      (String ((Ascii (false, false, true, false, false, false, true,
-      false)), (String ((Ascii (false, true, true, false, false, false, true,
-      false)), (String ((Ascii (true, false, false, true, false, false, true,
-      false)), (String ((Ascii (true, false, false, true, false, false, true,
-      false)), (String ((Ascii (false, false, true, false, false, true, true,
-      false)), (String ((Ascii (true, false, true, false, false, true, true,
-      false)), (String ((Ascii (false, true, true, true, false, true, true,
-      false)), (String ((Ascii (false, false, true, false, true, true, true,
-      false)), (String ((Ascii (true, false, false, true, false, true, true,
-      false)), (String ((Ascii (false, true, true, false, false, true, true,
-      false)), (String ((Ascii (true, false, false, true, false, true, true,
-      false)), (String ((Ascii (true, true, false, false, false, true, true,
-      false)), (String ((Ascii (true, false, false, false, false, true, true,
-      false)), (String ((Ascii (false, false, true, false, true, true, true,
-      false)), (String ((Ascii (true, false, false, true, false, true, true,
-      false)), (String ((Ascii (true, true, true, true, false, true, true,
-      false)), (String ((Ascii (false, true, true, true, false, true, true,
-      false)), EmptyString)))))))))))))))))))))))))))))))))))) ((String
-      ((Ascii (false, false, false, false, true, true, true, false)), (String
-      ((Ascii (true, false, false, false, false, true, true, false)), (String
-      ((Ascii (false, true, false, false, true, true, true, false)), (String
-      ((Ascii (true, true, false, false, true, true, true, false)), (String
-      ((Ascii (true, false, true, false, false, true, true, false)), (String
-      ((Ascii (true, true, false, false, true, false, true, false)), (String
-      ((Ascii (false, false, true, false, true, true, true, false)), (String
-      ((Ascii (false, true, false, false, true, true, true, false)), (String
-      ((Ascii (true, false, false, true, false, true, true, false)), (String
-      ((Ascii (false, true, true, true, false, true, true, false)), (String
-      ((Ascii (true, true, true, false, false, true, true, false)), (String
-      ((Ascii (false, true, true, false, false, false, true, false)), (String
-      ((Ascii (true, false, false, true, false, true, true, false)), (String
-      ((Ascii (true, false, true, false, false, true, true, false)), (String
-      ((Ascii (false, false, true, true, false, true, true, false)), (String
-      ((Ascii (false, false, true, false, false, true, true, false)),
-      EmptyString)))))))))))))))))))))))))))))))) :: [])) :: ((mkcut (S (S (S
-                                                                (S (S (S (S
-                                                                (S (S (S (S
-                                                                (S (S (S (S
-                                                                (S (S (S (S
-                                                                (S (S (S (S
-                                                                (S (S (S (S
-                                                                (S (S (S (S
-                                                                (S (S (S (S
-                                                                (S (S (S (S
-                                                                (S (S (S (S
-                                                                (S (S (S (S
-                                                                (S (S (S (S
-                                                                (S (S (S (S
-                                                                (S (S (S (S
-                                                                (S (S (S (S
-                                                                (S (S (S (S
-                                                                (S (S (S (S
-                                                                (S (S (S
-                                                                O))))))))))))))))))))))))))))))))))))))))))))))))))))))))))))))))))))))))))
-                                                                (S (S (S (S
-                                                                (S (S (S (S
-                                                                (S (S (S (S
-                                                                (S (S (S (S
-                                                                (S (S (S (S
-                                                                (S (S (S (S
-                                                                (S (S (S (S
-                                                                (S (S (S (S
-                                                                (S (S (S (S
-                                                                (S (S (S (S
-                                                                (S (S (S (S
-                                                                (S (S (S (S
-                                                                (S (S (S (S
-                                                                (S (S (S (S
-                                                                (S (S (S (S
-                                                                (S (S (S (S
-                                                                (S (S (S (S
-                                                                (S (S (S (S
-                                                                (S (S (S (S
-                                                                (S
-                                                                O)))))))))))))))))))))))))))))))))))))))))))))))))))))))))))))))))))))))))))))
-                                                                (String
-                                                                ((Ascii
-                                                                (true, true,
-                                                                true, true,
-                                                                false, false,
-                                                                true,
-                                                                false)),
-                                                                (String
-                                                                ((Ascii
-                                                                (false,
-                                                                false, true,
-                                                                false, false,
-                                                                false, true,
-                                                                false)),
-                                                                (String
-                                                                ((Ascii
-                                                                (false, true,
-                                                                true, false,
-                                                                false, false,
-                                                                true,
-                                                                false)),
-                                                                (String
-                                                                ((Ascii
-                                                                (true, false,
-                                                                false, true,
-                                                                false, false,
-                                                                true,
-                                                                false)),
-                                                                (String
-                                                                ((Ascii
-                                                                (false, true,
-                                                                false, false,
-                                                                false, false,
-                                                                true,
-                                                                false)),
-                                                                (String
-                                                                ((Ascii
-                                                                (false, true,
-                                                                false, false,
-                                                                true, true,
-                                                                true,
-                                                                false)),
-                                                                (String
-                                                                ((Ascii
-                                                                (true, false,
-                                                                false, false,
-                                                                false, true,
-                                                                true,
-                                                                false)),
-                                                                (String
-                                                                ((Ascii
-                                                                (false, true,
-                                                                true, true,
-                                                                false, true,
-                                                                true,
-                                                                false)),
-                                                                (String
-                                                                ((Ascii
-                                                                (true, true,
-                                                                false, false,
-                                                                false, true,
-                                                                true,
-                                                                false)),
-                                                                (String
-                                                                ((Ascii
-                                                                (false,
-                                                                false, false,
-                                                                true, false,
-                                                                true, true,
-                                                                false)),
-                                                                (String
-                                                                ((Ascii
-                                                                (true, true,
-                                                                false, false,
-                                                                false, false,
-                                                                true,
-                                                                false)),
-                                                                (String
-                                                                ((Ascii
-                                                                (true, true,
-                                                                true, true,
-                                                                false, true,
-                                                                true,
-                                                                false)),
-                                                                (String
-                                                                ((Ascii
-                                                                (true, false,
-                                                                true, false,
-                                                                true, true,
-                                                                true,
-                                                                false)),
-                                                                (String
-                                                                ((Ascii
-                                                                (false, true,
-                                                                true, true,
-                                                                false, true,
-                                                                true,
-                                                                false)),
-                                                                (String
-                                                                ((Ascii
-                                                                (false,
-                                                                false, true,
-                                                                false, true,
-                                                                true, true,
-                                                                false)),
-                                                                (String
-                                                                ((Ascii
-                                                                (false, true,
-                                                                false, false,
-                                                                true, true,
-                                                                true,
-                                                                false)),
-                                                                (String
-                                                                ((Ascii
-                                                                (true, false,
-                                                                false, true,
-                                                                true, true,
-                                                                true,
-                                                                false)),
-                                                                (String
-                                                                ((Ascii
-                                                                (true, true,
-                                                                false, false,
-                                                                false, false,
-                                                                true,
-                                                                false)),
-                                                                (String
-                                                                ((Ascii
-                                                                (true, true,
-                                                                true, true,
-                                                                false, true,
-                                                                true,
-                                                                false)),
-                                                                (String
-                                                                ((Ascii
-                                                                (false,
-                                                                false, true,
-                                                                false, false,
-                                                                true, true,
-                                                                false)),
-                                                                (String
-                                                                ((Ascii
-                                                                (true, false,
-                                                                true, false,
-                                                                false, true,
-                                                                true,
-                                                                false)),
-                                                                EmptyString))))))))))))))))))))))))))))))))))))))))))
-                                                                ((String
-                                                                ((Ascii
-                                                                (true, true,
-                                                                false, false,
-                                                                true, true,
-                                                                true,
-                                                                false)),
-                                                                (String
-                                                                ((Ascii
-                                                                (false,
-                                                                false, true,
-                                                                false, true,
-                                                                true, true,
-                                                                false)),
-                                                                (String
-                                                                ((Ascii
-                                                                (false, true,
-                                                                false, false,
-                                                                true, true,
-                                                                true,
-                                                                false)),
-                                                                (String
-                                                                ((Ascii
-                                                                (true, false,
-                                                                false, true,
-                                                                false, true,
-                                                                true,
-                                                                false)),
-                                                                (String
-                                                                ((Ascii
-                                                                (false, true,
-                                                                true, true,
-                                                                false, true,
-                                                                true,
-                                                                false)),
-                                                                (String
-                                                                ((Ascii
-                                                                (true, true,
-                                                                true, false,
-                                                                false, true,
-                                                                true,
-                                                                false)),
-                                                                (String
-                                                                ((Ascii
-                                                                (true, true,
-                                                                false, false,
-                                                                true, true,
-                                                                true,
-                                                                false)),
-                                                                (String
-                                                                ((Ascii
-                                                                (false, true,
-                                                                true, true,
-                                                                false, true,
-                                                                false,
-                                                                false)),
-                                                                (String
-                                                                ((Ascii
-                                                                (false,
-                                                                false, true,
-                                                                false, true,
-                                                                false, true,
-                                                                false)),
-                                                                (String
-                                                                ((Ascii
-                                                                (false, true,
-                                                                false, false,
-                                                                true, true,
-                                                                true,
-                                                                false)),
-                                                                (String
-                                                                ((Ascii
-                                                                (true, false,
-                                                                false, true,
-                                                                false, true,
-                                                                true,
-                                                                false)),
-                                                                (String
-                                                                ((Ascii
-                                                                (true, false,
-                                                                true, true,
-                                                                false, true,
-                                                                true,
-                                                                false)),
-                                                                (String
-                                                                ((Ascii
-                                                                (true, true,
-                                                                false, false,
-                                                                true, false,
-                                                                true,
-                                                                false)),
-                                                                (String
-                                                                ((Ascii
-                                                                (false,
-                                                                false, false,
-                                                                false, true,
-                                                                true, true,
-                                                                false)),
-                                                                (String
-                                                                ((Ascii
-                                                                (true, false,
-                                                                false, false,
-                                                                false, true,
-                                                                true,
-                                                                false)),
-                                                                (String
-                                                                ((Ascii
-                                                                (true, true,
-                                                                false, false,
-                                                                false, true,
-                                                                true,
-                                                                false)),
-                                                                (String
-                                                                ((Ascii
-                                                                (true, false,
-                                                                true, false,
-                                                                false, true,
-                                                                true,
-                                                                false)),
-                                                                EmptyString)))))))))))))))))))))))))))))))))) :: [])) :: (
-    (mkcut (S (S (S (S (S (S (S (S (S (S (S (S (S (S (S (S (S (S (S (S (S (S
-      (S (S (S (S (S (S (S (S (S (S (S (S (S (S (S (S (S (S (S (S (S (S (S (S
-      (S (S (S (S (S (S (S (S (S (S (S (S (S (S (S (S (S (S (S (S (S (S (S (S
-      (S (S (S (S (S (S (S
-      O)))))))))))))))))))))))))))))))))))))))))))))))))))))))))))))))))))))))))))))
-      (S (S (S (S (S (S (S (S (S (S (S (S (S (S (S (S (S (S (S (S (S (S (S (S
-      (S (S (S (S (S (S (S (S (S (S (S (S (S (S (S (S (S (S (S (S (S (S (S (S
-      (S (S (S (S (S (S (S (S (S (S (S (S (S (S (S (S (S (S (S (S (S (S (S (S
-      (S (S (S (S (S (S (S (S (S (S (S (S (S (S (S
-      O)))))))))))))))))))))))))))))))))))))))))))))))))))))))))))))))))))))))))))))))))))))))
-      EmptyString []) :: ((mkcut (S (S (S (S (S (S (S (S (S (S (S (S (S (S (S
-                            (S (S (S (S (S (S (S (S (S (S (S (S (S (S (S (S
-                            (S (S (S (S (S (S (S (S (S (S (S (S (S (S (S (S
-                            (S (S (S (S (S (S (S (S (S (S (S (S (S (S (S (S
-                            (S (S (S (S (S (S (S (S (S (S (S (S (S (S (S (S
-                            (S (S (S (S (S (S (S (S
-                            O)))))))))))))))))))))))))))))))))))))))))))))))))))))))))))))))))))))))))))))))))))))))
-                            (S (S (S (S (S (S (S (S (S (S (S (S (S (S (S (S
-                            (S (S (S (S (S (S (S (S (S (S (S (S (S (S (S (S
-                            (S (S (S (S (S (S (S (S (S (S (S (S (S (S (S (S
-                            (S (S (S (S (S (S (S (S (S (S (S (S (S (S (S (S
-                            (S (S (S (S (S (S (S (S (S (S (S (S (S (S (S (S
-                            (S (S (S (S (S (S (S (S (S (S (S (S (S (S
-                            O))))))))))))))))))))))))))))))))))))))))))))))))))))))))))))))))))))))))))))))))))))))))))))))
-                            (String ((Ascii (true, false, true, false, false,
-                            false, true, false)), (String ((Ascii (false,
-                            true, true, true, false, true, true, false)),
-                            (String ((Ascii (false, false, true, false, true,
-                            true, true, false)), (String ((Ascii (false,
-                            true, false, false, true, true, true, false)),
-                            (String ((Ascii (true, false, false, true, true,
-                            true, true, false)), (String ((Ascii (false,
-                            false, true, false, false, false, true, false)),
-                            (String ((Ascii (true, false, true, false, false,
-                            true, true, false)), (String ((Ascii (false,
-                            false, true, false, true, true, true, false)),
-                            (String ((Ascii (true, false, false, false,
-                            false, true, true, false)), (String ((Ascii
-                            (true, false, false, true, false, true, true,
-                            false)), (String ((Ascii (false, false, true,
-                            true, false, true, true, false)), (String ((Ascii
-                            (true, true, false, false, true, false, true,
-                            false)), (String ((Ascii (true, false, true,
-                            false, false, true, true, false)), (String
-                            ((Ascii (true, false, false, false, true, true,
-                            true, false)), (String ((Ascii (true, false,
-                            true, false, true, true, true, false)), (String
-                            ((Ascii (true, false, true, false, false, true,
-                            true, false)), (String ((Ascii (false, true,
-                            true, true, false, true, true, false)), (String
-                            ((Ascii (true, true, false, false, false, true,
-                            true, false)), (String ((Ascii (true, false,
-                            true, false, false, true, true, false)), (String
-                            ((Ascii (false, true, true, true, false, false,
-                            true, false)), (String ((Ascii (true, false,
-                            true, false, true, true, true, false)), (String
-                            ((Ascii (true, false, true, true, false, true,
-                            true, false)), (String ((Ascii (false, true,
-                            false, false, false, true, true, false)), (String
-                            ((Ascii (true, false, true, false, false, true,
-                            true, false)), (String ((Ascii (false, true,
-                            false, false, true, true, true, false)),
-                            EmptyString))))))))))))))))))))))))))))))))))))))))))))))))))
-                            ((String ((Ascii (false, false, false, false,
-                            true, true, true, false)), (String ((Ascii (true,
-                            false, false, false, false, true, true, false)),
-                            (String ((Ascii (false, true, false, false, true,
-                            true, true, false)), (String ((Ascii (true, true,
-                            false, false, true, true, true, false)), (String
-                            ((Ascii (true, false, true, false, false, true,
-                            true, false)), (String ((Ascii (false, true,
-                            true, true, false, false, true, false)), (String
-                            ((Ascii (true, false, true, false, true, true,
-                            true, false)), (String ((Ascii (true, false,
-                            true, true, false, true, true, false)), (String
-                            ((Ascii (false, true, true, false, false, false,
-                            true, false)), (String ((Ascii (true, false,
-                            false, true, false, true, true, false)), (String
-                            ((Ascii (true, false, true, false, false, true,
-                            true, false)), (String ((Ascii (false, false,
-                            true, true, false, true, true, false)), (String
-                            ((Ascii (false, false, true, false, false, true,
-                            true, false)),
-                            EmptyString)))))))))))))))))))))))))) :: [])) :: [])))))))) }
+let write_file p le recs b =
+  let (p0, a) = write_recs p le (b, N0) recs in
+  let (b1, n0) = p0 in
+  (match a with
+   | Cont ->
+     let (b2, a2) = pad_loop p le (pad_count n0) b1 in
+     (match a2 with
+      | Cont -> final_flush p b2
+      | Ret r -> (b2, r))
+   | Ret r -> (b1, r))
 
-(** val l_Addenda14 : layout **)
+type wresult = { wr_write : werr option; wr_flush : werr option;
+                 wr_sink : sink }
 
-let l_Addenda14 =
-  { l_name = (String ((Ascii (true, false, false, false, false, false, true,
-    false)), (String ((Ascii (false, false, true, false, false, true, true,
-    false)), (String ((Ascii (false, false, true, false, false, true, true,
-    false)), (String ((Ascii (true, false, true, false, false, true, true,
-    false)), (String ((Ascii (false, true, true, true, false, true, true,
-    false)), (String ((Ascii (false, false, true, false, false, true, true,
-    false)), (String ((Ascii (true, false, false, false, false, true, true,
-    false)), (String ((Ascii (true, false, false, false, true, true, false,
-    false)), (String ((Ascii (false, false, true, false, true, true, false,
-    false)), EmptyString)))))))))))))))))); l_ix = IRune; l_segs = ((SLit
-    ((Npos (XI (XI (XI (XO (XI XH)))))) :: [])) :: ((SRaw (String ((Ascii
-    (false, false, true, false, true, false, true, false)), (String ((Ascii
-    (true, false, false, true, true, true, true, false)), (String ((Ascii
-    (false, false, false, false, true, true, true, false)), (String ((Ascii
-    (true, false, true, false, false, true, true, false)), (String ((Ascii
-    (true, true, false, false, false, false, true, false)), (String ((Ascii
-    (true, true, true, true, false, true, true, false)), (String ((Ascii
-    (false, false, true, false, false, true, true, false)), (String ((Ascii
-    (true, false, true, false, false, true, true, false)),
-    EmptyString))))))))))))))))) :: ((SAlpha ((String ((Ascii (false, true,
-    false, false, true, false, true, false)), (String ((Ascii (false, false,
-    true, false, false, false, true, false)), (String ((Ascii (false, true,
-    true, false, false, false, true, false)), (String ((Ascii (true, false,
-    false, true, false, false, true, false)), (String ((Ascii (false, true,
-    true, true, false, false, true, false)), (String ((Ascii (true, false,
-    false, false, false, true, true, false)), (String ((Ascii (true, false,
-    true, true, false, true, true, false)), (String ((Ascii (true, false,
-    true, false, false, true, true, false)), EmptyString)))))))))))))))), (S
-    (S (S (S (S (S (S (S (S (S (S (S (S (S (S (S (S (S (S (S (S (S (S (S (S
-    (S (S (S (S (S (S (S (S (S (S
-    O))))))))))))))))))))))))))))))))))))) :: ((SAlpha ((String ((Ascii
-    (false, true, false, false, true, false, true, false)), (String ((Ascii
-    (false, false, true, false, false, false, true, false)), (String ((Ascii
-    (false, true, true, false, false, false, true, false)), (String ((Ascii
-    (true, false, false, true, false, false, true, false)), (String ((Ascii
-    (true, false, false, true, false, false, true, false)), (String ((Ascii
-    (false, false, true, false, false, false, true, false)), (String ((Ascii
-    (false, true, true, true, false, false, true, false)), (String ((Ascii
-    (true, false, true, false, true, true, true, false)), (String ((Ascii
-    (true, false, true, true, false, true, true, false)), (String ((Ascii
-    (false, true, false, false, false, true, true, false)), (String ((Ascii
-    (true, false, true, false, false, true, true, false)), (String ((Ascii
-    (false, true, false, false, true, true, true, false)), (String ((Ascii
-    (true, false, false, false, true, false, true, false)), (String ((Ascii
-    (true, false, true, false, true, true, true, false)), (String ((Ascii
-    (true, false, false, false, false, true, true, false)), (String ((Ascii
-    (false, false, true, true, false, true, true, false)), (String ((Ascii
-    (true, false, false, true, false, true, true, false)), (String ((Ascii
-    (false, true, true, false, false, true, true, false)), (String ((Ascii
-    (true, false, false, true, false, true, true, false)), (String ((Ascii
-    (true, false, true, false, false, true, true, false)), (String ((Ascii
-    (false, true, false, false, true, true, true, false)),
-    EmptyString)))))))))))))))))))))))))))))))))))))))))), (S (S
-    O)))) :: ((SAlpha ((String ((Ascii (false, true, false, false, true,
-    false, true, false)), (String ((Ascii (false, false, true, false, false,
-    false, true, false)), (String ((Ascii (false, true, true, false, false,
-    false, true, false)), (String ((Ascii (true, false, false, true, false,
-    false, true, false)), (String ((Ascii (true, false, false, true, false,
-    false, true, false)), (String ((Ascii (false, false, true, false, false,
-    true, true, false)), (String ((Ascii (true, false, true, false, false,
-    true, true, false)), (String ((Ascii (false, true, true, true, false,
-    true, true, false)), (String ((Ascii (false, false, true, false, true,
-    true, true, false)), (String ((Ascii (true, false, false, true, false,
-    true, true, false)), (String ((Ascii (false, true, true, false, false,
-    true, true, false)), (String ((Ascii (true, false, false, true, false,
-    true, true, false)), (String ((Ascii (true, true, false, false, false,
-    true, true, false)), (String ((Ascii (true, false, false, false, false,
-    true, true, false)), (String ((Ascii (false, false, true, false, true,
-    true, true, false)), (String ((Ascii (true, false, false, true, false,
-    true, true, false)), (String ((Ascii (true, true, true, true, false,
-    true, true, false)), (String ((Ascii (false, true, true, true, false,
-    true, true, false)), EmptyString)))))))))))))))))))))))))))))))))))), (S
-    (S (S (S (S (S (S (S (S (S (S (S (S (S (S (S (S (S (S (S (S (S (S (S (S
-    (S (S (S (S (S (S (S (S (S
-    O)))))))))))))))))))))))))))))))))))) :: ((SAlpha ((String ((Ascii
-    (false, true, false, false, true, false, true, false)), (String ((Ascii
-    (false, false, true, false, false, false, true, false)), (String ((Ascii
-    (false, true, true, false, false, false, true, false)), (String ((Ascii
-    (true, false, false, true, false, false, true, false)), (String ((Ascii
-    (false, true, false, false, false, false, true, false)), (String ((Ascii
-    (false, true, false, false, true, true, true, false)), (String ((Ascii
-    (true, false, false, false, false, true, true, false)), (String ((Ascii
-    (false, true, true, true, false, true, true, false)), (String ((Ascii
-    (true, true, false, false, false, true, true, false)), (String ((Ascii
-    (false, false, false, true, false, true, true, false)), (String ((Ascii
-    (true, true, false, false, false, false, true, false)), (String ((Ascii
-    (true, true, true, true, false, true, true, false)), (String ((Ascii
-    (true, false, true, false, true, true, true, false)), (String ((Ascii
-    (false, true, true, true, false, true, true, false)), (String ((Ascii
-    (false, false, true, false, true, true, true, false)), (String ((Ascii
-    (false, true, false, false, true, true, true, false)), (String ((Ascii
-    (true, false, false, true, true, true, true, false)), (String ((Ascii
-    (true, true, false, false, false, false, true, false)), (String ((Ascii
-    (true, true, true, true, false, true, true, false)), (String ((Ascii
-    (false, false, true, false, false, true, true, false)), (String ((Ascii
-    (true, false, true, false, false, true, true, false)),
-    EmptyString)))))))))))))))))))))))))))))))))))))))))), (S (S (S
-    O))))) :: ((SLit ((Npos (XO (XO (XO (XO (XO XH)))))) :: ((Npos (XO (XO
-    (XO (XO (XO XH)))))) :: ((Npos (XO (XO (XO (XO (XO XH)))))) :: ((Npos (XO
-    (XO (XO (XO (XO XH)))))) :: ((Npos (XO (XO (XO (XO (XO XH)))))) :: ((Npos
-    (XO (XO (XO (XO (XO XH)))))) :: ((Npos (XO (XO (XO (XO (XO
-    XH)))))) :: ((Npos (XO (XO (XO (XO (XO XH)))))) :: ((Npos (XO (XO (XO (XO
-    (XO XH)))))) :: ((Npos (XO (XO (XO (XO (XO
-    XH)))))) :: []))))))))))) :: ((SNum ((String ((Ascii (true, false, true,
-    false, false, false, true, false)), (String ((Ascii (false, true, true,
-    true, false, true, true, false)), (String ((Ascii (false, false, true,
-    false, true, true, true, false)), (String ((Ascii (false, true, false,
-    false, true, true, true, false)), (String ((Ascii (true, false, false,
-    true, true, true, true, false)), (String ((Ascii (false, false, true,
-    false, false, false, true, false)), (String ((Ascii (true, false, true,
-    false, false, true, true, false)), (String ((Ascii (false, false, true,
-    false, true, true, true, false)), (String ((Ascii (true, false, false,
-    false, false, true, true, false)), (String ((Ascii (true, false, false,
-    true, false, true, true, false)), (String ((Ascii (false, false, true,
-    true, false, true, true, false)), (String ((Ascii (true, true, false,
-    false, true, false, true, false)), (String ((Ascii (true, false, true,
-    false, false, true, true, false)), (String ((Ascii (true, false, false,
-    false, true, true, true, false)), (String ((Ascii (true, false, true,
-    false, true, true, true, false)), (String ((Ascii (true, false, true,
-    false, false, true, true, false)), (String ((Ascii (false, true, true,
-    true, false, true, true, false)), (String ((Ascii (true, true, false,
-    false, false, true, true, false)), (String ((Ascii (true, false, true,
-    false, false, true, true, false)), (String ((Ascii (false, true, true,
-    true, false, false, true, false)), (String ((Ascii (true, false, true,
-    false, true, true, true, false)), (String ((Ascii (true, false, true,
-    true, false, true, true, false)), (String ((Ascii (false, true, false,
-    false, false, true, true, false)), (String ((Ascii (true, false, true,
-    false, false, true, true, false)), (String ((Ascii (false, true, false,
-    false, true, true, true, false)),
-    EmptyString)))))))))))))))))))))))))))))))))))))))))))))))))), (S (S (S
-    (S (S (S (S O))))))))) :: [])))))))); l_cuts =
-    ((mkcut O (S O) EmptyString []) :: ((mkcut (S O) (S (S (S O))) (String
-                                          ((Ascii (false, false, true, false,
-                                          true, false, true, false)), (String
-                                          ((Ascii (true, false, false, true,
-                                          true, true, true, false)), (String
-                                          ((Ascii (false, false, false,
-                                          false, true, true, true, false)),
-                                          (String ((Ascii (true, false, true,
-                                          false, false, true, true, false)),
-                                          (String ((Ascii (true, true, false,
-                                          false, false, false, true, false)),
-                                          (String ((Ascii (true, true, true,
-                                          true, false, true, true, false)),
-                                          (String ((Ascii (false, false,
-                                          true, false, false, true, true,
-                                          false)), (String ((Ascii (true,
-                                          false, true, false, false, true,
-                                          true, false)),
-                                          EmptyString)))))))))))))))) []) :: (
-    (mkcut (S (S (S O))) (S (S (S (S (S (S (S (S (S (S (S (S (S (S (S (S (S
-      (S (S (S (S (S (S (S (S (S (S (S (S (S (S (S (S (S (S (S (S (S
-      O)))))))))))))))))))))))))))))))))))))) (String ((Ascii (false, true,
-      false, false, true, false, true, false)), (String ((Ascii (false,
-      false, true, false, false, false, true, false)), (String ((Ascii
-      (false, true, true, false, false, false, true, false)), (String ((Ascii
-      (true, false, false, true, false, false, true, false)), (String ((Ascii
-      (false, true, true, true, false, false, true, false)), (String ((Ascii
-      (true, false, false, false, false, true, true, false)), (String ((Ascii
-      (true, false, true, true, false, true, true, false)), (String ((Ascii
-      (true, false, true, false, false, true, true, false)),
-      EmptyString)))))))))))))))) ((String ((Ascii (true, true, false, false,
-      true, true, true, false)), (String ((Ascii (false, false, true, false,
-      true, true, true, false)), (String ((Ascii (false, true, false, false,
-      true, true, true, false)), (String ((Ascii (true, false, false, true,
-      false, true, true, false)), (String ((Ascii (false, true, true, true,
-      false, true, true, false)), (String ((Ascii (true, true, true, false,
-      false, true, true, false)), (String ((Ascii (true, true, false, false,
-      true, true, true, false)), (String ((Ascii (false, true, true, true,
-      false, true, false, false)), (String ((Ascii (false, false, true,
-      false, true, false, true, false)), (String ((Ascii (false, true, false,
-      false, true, true, true, false)), (String ((Ascii (true, false, false,
-      true, false, true, true, false)), (String ((Ascii (true, false, true,
-      true, false, true, true, false)), (String ((Ascii (true, true, false,
-      false, true, false, true, false)), (String ((Ascii (false, false,
-      false, false, true, true, true, false)), (String ((Ascii (true, false,
-      false, false, false, true, true, false)), (String ((Ascii (true, true,
-      false, false, false, true, true, false)), (String ((Ascii (true, false,
-      true, false, false, true, true, false)),
-      EmptyString)))))))))))))))))))))))))))))))))) :: [])) :: ((mkcut (S (S
-                                                                  (S (S (S (S
-                                                                  (S (S (S (S
-                                                                  (S (S (S (S
-                                                                  (S (S (S (S
-                                                                  (S (S (S (S
-                                                                  (S (S (S (S
-                                                                  (S (S (S (S
-                                                                  (S (S (S (S
-                                                                  (S (S (S (S
-                                                                  O))))))))))))))))))))))))))))))))))))))
-                                                                  (S (S (S (S
-                                                                  (S (S (S (S
-                                                                  (S (S (S (S
-                                                                  (S (S (S (S
-                                                                  (S (S (S (S
-                                                                  (S (S (S (S
-                                                                  (S (S (S (S
-                                                                  (S (S (S (S
-                                                                  (S (S (S (S
-                                                                  (S (S (S (S
-                                                                  O))))))))))))))))))))))))))))))))))))))))
-                                                                  (String
-                                                                  ((Ascii
-                                                                  (false,
-                                                                  true,
-                                                                  false,
-                                                                  false,
-                                                                  true,
-                                                                  false,
-                                                                  true,
-                                                                  false)),
-                                                                  (String
-                                                                  ((Ascii
-                                                                  (false,
-                                                                  false,
-                                                                  true,
-                                                                  false,
-                                                                  false,
-                                                                  false,
-                                                                  true,
-                                                                  false)),
-                                                                  (String
-                                                                  ((Ascii
-                                                                  (false,
-                                                                  true, true,
-                                                                  false,
-                                                                  false,
-                                                                  false,
-                                                                  true,
-                                                                  false)),
-                                                                  (String
-                                                                  ((Ascii
-                                                                  (true,
-                                                                  false,
-                                                                  false,
-                                                                  true,
-                                                                  false,
-                                                                  false,
-                                                                  true,
-                                                                  false)),
-                                                                  (String
-                                                                  ((Ascii
-                                                                  (true,
-                                                                  false,
-                                                                  false,
-                                                                  true,
-                                                                  false,
-                                                                  false,
-                                                                  true,
-                                                                  false)),
-                                                                  (String
-                                                                  ((Ascii
-                                                                  (false,
-                                                                  false,
-                                                                  true,
-                                                                  false,
-                                                                  false,
-                                                                  false,
-                                                                  true,
-                                                                  false)),
-                                                                  (String
-                                                                  ((Ascii
-                                                                  (false,
-                                                                  true, true,
-                                                                  true,
-                                                                  false,
-                                                                  false,
-                                                                  true,
-                                                                  false)),
-                                                                  (String
-                                                                  ((Ascii
-                                                                  (true,
-                                                                  false,
-                                                                  true,
-                                                                  false,
-                                                                  true, true,
-                                                                  true,
-                                                                  false)),
-                                                                  (String
-                                                                  ((Ascii
-                                                                  (true,
-                                                                  false,
-                                                                  true, true,
-                                                                  false,
-                                                                  true, true,
-                                                                  false)),
-                                                                  (String
-                                                                  ((Ascii
-                                                                  (false,
-                                                                  true,
-                                                                  false,
-                                                                  false,
-                                                                  false,
-                                                                  true, true,
-                                                                  false)),
-                                                                  (String
-                                                                  ((Ascii
-                                                                  (true,
-                                                                  false,
-                                                                  true,
-                                                                  false,
-                                                                  false,
-                                                                  true, true,
-                                                                  false)),
-                                                                  (String
-                                                                  ((Ascii
-                                                                  (false,
-                                                                  true,
-                                                                  false,
-                                                                  false,
-                                                                  true, true,
-                                                                  true,
-                                                                  false)),
-                                                                  (String
-                                                                  ((Ascii
-                                                                  (true,
-                                                                  false,
-                                                                  false,
-                                                                  false,
-                                                                  true,
-                                                                  false,
-                                                                  true,
-                                                                  false)),
-                                                                  (String
-                                                                  ((Ascii
-                                                                  (true,
-                                                                  false,
-                                                                  true,
-                                                                  false,
-                                                                  true, true,
-                                                                  true,
-                                                                  false)),
-                                                                  (String
-                                                                  ((Ascii
-                                                                  (true,
-                                                                  false,
-                                                                  false,
-                                                                  false,
-                                                                  false,
-                                                                  true, true,
-                                                                  false)),
-                                                                  (String
-                                                                  ((Ascii
-                                                                  (false,
-                                                                  false,
-                                                                  true, true,
-                                                                  false,
-                                                                  true, true,
-                                                                  false)),
-                                                                  (String
-                                                                  ((Ascii
-                                                                  (true,
-                                                                  false,
-                                                                  false,
-                                                                  true,
-                                                                  false,
-                                                                  true, true,
-                                                                  false)),
-                                                                  (String
-                                                                  ((Ascii
-                                                                  (false,
-                                                                  true, true,
-                                                                  false,
-                                                                  false,
-                                                                  true, true,
-                                                                  false)),
-                                                                  (String
-                                                                  ((Ascii
-                                                                  (true,
-                                                                  false,
-                                                                  false,
-                                                                  true,
-                                                                  false,
-                                                                  true, true,
-                                                                  false)),
-                                                                  (String
-                                                                  ((Ascii
-                                                                  (true,
-                                                                  false,
-                                                                  true,
-                                                                  false,
-                                                                  false,
-                                                                  true, true,
-                                                                  false)),
-                                                                  (String
-                                                                  ((Ascii
-                                                                  (false,
-                                                                  true,
-                                                                  false,
-                                                                  false,
-                                                                  true, true,
-                                                                  true,
-                                                                  false)),
-                                                                  EmptyString))))))))))))))))))))))))))))))))))))))))))
-                                                                  []) :: (
-    (mkcut (S (S (S (S (S (S (S (S (S (S (S (S (S (S (S (S (S (S (S (S (S (S
-      (S (S (S (S (S (S (S (S (S (S (S (S (S (S (S (S (S (S
-      O)))))))))))))))))))))))))))))))))))))))) (S (S (S (S (S (S (S (S (S (S
-      (S (S (S (S (S (S (S (S (S (S (S (S (S (S (S (S (S (S (S (S (S (S (S (S
-      (S (S (S (S (S (S (S (S (S (S (S (S (S (S (S (S (S (S (S (S (S (S (S (S
-      (S (S (S (S (S (S (S (S (S (S (S (S (S (S (S (S
-      O))))))))))))))))))))))))))))))))))))))))))))))))))))))))))))))))))))))))))
-      (String ((Ascii (false, true, false, false, true, false, true, false)),
-      (String ((Ascii (false, false, true, false, false, false, true,
-      false)), (String ((Ascii (false, true, true, false, false, false, true,
-      false)), (String ((Ascii (true, false, false, true, false, false, true,
-      false)), (String ((Ascii (true, false, false, true, false, false, true,
-      false)), (String ((Ascii (false, false, true, false, false, true, true,
-      false)), (String ((Ascii (true, false, true, false, false, true, true,
-      false)), (String ((Ascii (false, true, true, true, false, true, true,
-      false)), (String ((Ascii (false, false, true, false, true, true, true,
-      false)), (String ((Ascii (true, false, false, true, false, true, true,
-      false)), (String ((Ascii (false, true, true, false, false, true, true,
-      false)), (String ((Ascii (true, false, false, true, false, true, true,
-      false)), (String ((Ascii (true, true, false, false, false, true, true,
-      false)), (String ((Ascii (true, false, false, false, false, true, true,
-      false)), (String ((Ascii (false, false, true, false, true, true, true,
-      false)), (String ((Ascii (true, false, false, true, false, true, true,
-      false)), (String ((Ascii (true, true, true, true, false, true, true,
-      false)), (String ((Ascii (false, true, true, true, false, true, true,
-      false)), EmptyString)))))))))))))))))))))))))))))))))))) ((String
-      ((Ascii (false, false, false, false, true, true, true, false)), (String
-      ((Ascii (true, false, false, false, false, true, true, false)), (String
-      ((Ascii (false, true, false, false, true, true, true, false)), (String
-      ((Ascii (true, true, false, false, true, true, true, false)), (String
-      ((Ascii (true, false, true, false, false, true, true, false)), (String
-      ((Ascii (true, true, false, false, true, false, true, false)), (String
-      ((Ascii (false, false, true, false, true, true, true, false)), (String
-      ((Ascii (false, true, false, false, true, true, true, false)), (String
-      ((Ascii (true, false, false, true, false, true, true, false)), (String
-      ((Ascii (false, true, true, true, false, true, true, false)), (String
-      ((Ascii (true, true, true, false, false, true, true, false)), (String
-      ((Ascii (false, true, true, false, false, false, true, false)), (String
-      ((Ascii (true, false, false, true, false, true, true, false)), (String
-      ((Ascii (true, false, true, false, false, true, true, false)), (String
-      ((Ascii (false, false, true, true, false, true, true, false)), (String
-      ((Ascii (false, false, true, false, false, true, true, false)),
-      EmptyString)))))))))))))))))))))))))))))))) :: [])) :: ((mkcut (S (S (S
-                                                                (S (S (S (S
-                                                                (S (S (S (S
-                                                                (S (S (S (S
-                                                                (S (S (S (S
-                                                                (S (S (S (S
-                                                                (S (S (S (S
-                                                                (S (S (S (S
-                                                                (S (S (S (S
-                                                                (S (S (S (S
-                                                                (S (S (S (S
-                                                                (S (S (S (S
-                                                                (S (S (S (S
-                                                                (S (S (S (S
-                                                                (S (S (S (S
-                                                                (S (S (S (S
-                                                                (S (S (S (S
-                                                                (S (S (S (S
-                                                                (S (S (S
-                                                                O))))))))))))))))))))))))))))))))))))))))))))))))))))))))))))))))))))))))))
-                                                                (S (S (S (S
-                                                                (S (S (S (S
-                                                                (S (S (S (S
-                                                                (S (S (S (S
-                                                                (S (S (S (S
-                                                                (S (S (S (S
-                                                                (S (S (S (S
-                                                                (S (S (S (S
-                                                                (S (S (S (S
-                                                                (S (S (S (S
-                                                                (S (S (S (S
-                                                                (S (S (S (S
-                                                                (S (S (S (S
-                                                                (S (S (S (S
-                                                                (S (S (S (S
-                                                                (S (S (S (S
-                                                                (S (S (S (S
-                                                                (S (S (S (S
-                                                                (S (S (S (S
-                                                                (S
-                                                                O)))))))))))))))))))))))))))))))))))))))))))))))))))))))))))))))))))))))))))))
-                                                                (String
-                                                                ((Ascii
-                                                                (false, true,
-                                                                false, false,
-                                                                true, false,
-                                                                true,
-                                                                false)),
-                                                                (String
-                                                                ((Ascii
-                                                                (false,
-                                                                false, true,
-                                                                false, false,
-                                                                false, true,
-                                                                false)),
-                                                                (String
-                                                                ((Ascii
-                                                                (false, true,
-                                                                true, false,
-                                                                false, false,
-                                                                true,
-                                                                false)),
-                                                                (String
-                                                                ((Ascii
-                                                                (true, false,
-                                                                false, true,
-                                                                false, false,
-                                                                true,
-                                                                false)),
-                                                                (String
-                                                                ((Ascii
-                                                                (false, true,
-                                                                false, false,
-                                                                false, false,
-                                                                true,
-                                                                false)),
-                                                                (String
-                                                                ((Ascii
-                                                                (false, true,
-                                                                false, false,
-                                                                true, true,
-                                                                true,
-                                                                false)),
-                                                                (String
-                                                                ((Ascii
-                                                                (true, false,
-                                                                false, false,
-                                                                false, true,
-                                                                true,
-                                                                false)),
-                                                                (String
-                                                                ((Ascii
-                                                                (false, true,
-                                                                true, true,
-                                                                false, true,
-                                                                true,
-                                                                false)),
-                                                                (String
-                                                                ((Ascii
-                                                                (true, true,
-                                                                false, false,
-                                                                false, true,
-                                                                true,
-                                                                false)),
-                                                                (String
-                                                                ((Ascii
-                                                                (false,
-                                                                false, false,
-                                                                true, false,
-                                                                true, true,
-                                                                false)),
-                                                                (String
-                                                                ((Ascii
-                                                                (true, true,
-                                                                false, false,
-                                                                false, false,
-                                                                true,
-                                                                false)),
-                                                                (String
-                                                                ((Ascii
-                                                                (true, true,
-                                                                true, true,
-                                                                false, true,
-                                                                true,
-                                                                false)),
-                                                                (String
-                                                                ((Ascii
-                                                                (true, false,
-                                                                true, false,
-                                                                true, true,
-                                                                true,
-                                                                false)),
-                                                                (String
-                                                                ((Ascii
-                                                                (false, true,
-                                                                true, true,
-                                                                false, true,
-                                                                true,
-                                                                false)),
-                                                                (String
-                                                                ((Ascii
-                                                                (false,
-                                                                false, true,
-                                                                false, true,
-                                                                true, true,
-                                                                false)),
-                                                                (String
-                                                                ((Ascii
-                                                                (false, true,
-                                                                false, false,
-                                                                true, true,
-                                                                true,
-                                                                false)),
-                                                                (String
-                                                                ((Ascii
-                                                                (true, false,
-                                                                false, true,
-                                                                true, true,
-                                                                true,
-                                                                false)),
-                                                                (String
-                                                                ((Ascii
-                                                                (true, true,
-                                                                false, false,
-                                                                false, false,
-                                                                true,
-                                                                false)),
-                                                                (String
-                                                                ((Ascii
-                                                                (true, true,
-                                                                true, true,
-                                                                false, true,
-                                                                true,
-                                                                false)),
-                                                                (String
-                                                                ((Ascii
-                                                                (false,
-                                                                false, true,
-                                                                false, false,
-                                                                true, true,
-                                                                false)),
-                                                                (String
-                                                                ((Ascii
-                                                                (true, false,
-                                                                true, false,
-                                                                false, true,
-                                                                true,
-                                                                false)),
-                                                                EmptyString))))))))))))))))))))))))))))))))))))))))))
-                                                                ((String
-                                                                ((Ascii
-                                                                (true, true,
-                                                                false, false,
-                                                                true, true,
-                                                                true,
-                                                                false)),
-                                                                (String
-                                                                ((Ascii
-                                                                (false,
-                                                                false, true,
-                                                                false, true,
-                                                                true, true,
-                                                                false)),
-                                                                (String
-                                                                ((Ascii
-                                                                (false, true,
-                                                                false, false,
-                                                                true, true,
-                                                                true,
-                                                                false)),
-                                                                (String
-                                                                ((Ascii
-                                                                (true, false,
-                                                                false, true,
-                                                                false, true,
-                                                                true,
-                                                                false)),
-                                                                (String
-                                                                ((Ascii
-                                                                (false, true,
-                                                                true, true,
-                                                                false, true,
-                                                                true,
-                                                                false)),
-                                                                (String
-                                                                ((Ascii
-                                                                (true, true,
-                                                                true, false,
-                                                                false, true,
-                                                                true,
-                                                                false)),
-                                                                (String
-                                                                ((Ascii
-                                                                (true, true,
-                                                                false, false,
-                                                                true, true,
-                                                                true,
-                                                                false)),
-                                                                (String
-                                                                ((Ascii
-                                                                (false, true,
-                                                                true, true,
-                                                                false, true,
-                                                                false,
-                                                                false)),
-                                                                (String
-                                                                ((Ascii
-                                                                (false,
-                                                                false, true,
-                                                                false, true,
-                                                                false, true,
-                                                                false)),
-                                                                (String
-                                                                ((Ascii
-                                                                (false, true,
-                                                                false, false,
-                                                                true, true,
-                                                                true,
-                                                                false)),
-                                                                (String
-                                                                ((Ascii
-                                                                (true, false,
-                                                                false, true,
-                                                                false, true,
-                                                                true,
-                                                                false)),
-                                                                (String
-                                                                ((Ascii
-                                                                (true, false,
-                                                                true, true,
-                                                                false, true,
-                                                                true,
-                                                                false)),
-                                                                (String
-                                                                ((Ascii
-                                                                (true, true,
-                                                                false, false,
-                                                                true, false,
-                                                                true,
-                                                                false)),
-                                                                (String
-                                                                ((Ascii
-                                                                (false,
-                                                                false, false,
-                                                                false, true,
-                                                                true, true,
-                                                                false)),
-                                                                (String
-                                                                ((Ascii
-                                                                (true, false,
-                                                                false, false,
-                                                                false, true,
-                                                                true,
-                                                                false)),
-                                                                (String
-                                                                ((Ascii
-                                                                (true, true,
-                                                                false, false,
-                                                                false, true,
-                                                                true,
-                                                                false)),
-                                                                (String
-                                                                ((Ascii
-                                                                (true, false,
-                                                                true, false,
-                                                                false, true,
-                                                                true,
-                                                                false)),
-                                                                EmptyString)))))))))))))))))))))))))))))))))) :: [])) :: (
-    (mkcut (S (S (S (S (S (S (S (S (S (S (S (S (S (S (S (S (S (S (S (S (S (S
-      (S (S (S (S (S (S (S (S (S (S (S (S (S (S (S (S (S (S (S (S (S (S (S (S
-      (S (S (S (S (S (S (S (S (S (S (S (S (S (S (S (S (S (S (S (S (S (S (S (S
-      (S (S (S (S (S (S (S
-      O)))))))))))))))))))))))))))))))))))))))))))))))))))))))))))))))))))))))))))))
-      (S (S (S (S (S (S (S (S (S (S (S (S (S (S (S (S (S (S (S (S (S (S (S (S
-      (S (S (S (S (S (S (S (S (S (S (S (S (S (S (S (S (S (S (S (S (S (S (S (S
-      (S (S (S (S (S (S (S (S (S (S (S (S (S (S (S (S (S (S (S (S (S (S (S (S
-      (S (S (S (S (S (S (S (S (S (S (S (S (S (S (S
-      O)))))))))))))))))))))))))))))))))))))))))))))))))))))))))))))))))))))))))))))))))))))))
-      EmptyString []) :: ((mkcut (S (S (S (S (S (S (S (S (S (S (S (S (S (S (S
-                            (S (S (S (S (S (S (S (S (S (S (S (S (S (S (S (S
-                            (S (S (S (S (S (S (S (S (S (S (S (S (S (S (S (S
-                            (S (S (S (S (S (S (S (S (S (S (S (S (S (S (S (S
-                            (S (S (S (S (S (S (S (S (S (S (S (S (S (S (S (S
-                            (S (S (S (S (S (S (S (S
-                            O)))))))))))))))))))))))))))))))))))))))))))))))))))))))))))))))))))))))))))))))))))))))
-                            (S (S (S (S (S (S (S (S (S (S (S (S (S (S (S (S
-                            (S (S (S (S (S (S (S (S (S (S (S (S (S (S (S (S
-                            (S (S (S (S (S (S (S (S (S (S (S (S (S (S (S (S
-                            (S (S (S (S (S (S (S (S (S (S (S (S (S (S (S (S
-                            (S (S (S (S (S (S (S (S (S (S (S (S (S (S (S (S
-                            (S (S (S (S (S (S (S (S (S (S (S (S (S (S
-                            O))))))))))))))))))))))))))))))))))))))))))))))))))))))))))))))))))))))))))))))))))))))))))))))
-                            (String ((Ascii (true, false, true, false, false,
-                            false, true, false)), (String ((Ascii (false,
-                            true, true, true, false, true, true, false)),
-                            (String ((Ascii (false, false, true, false, true,
-                            true, true, false)), (String ((Ascii (false,
-                            true, false, false, true, true, true, false)),
-                            (String ((Ascii (true, false, false, true, true,
-                            true, true, false)), (String ((Ascii (false,
-                            false, true, false, false, false, true, false)),
-                            (String ((Ascii (true, false, true, false, false,
-                            true, true, false)), (String ((Ascii (false,
-                            false, true, false, true, true, true, false)),
-                            (String ((Ascii (true, false, false, false,
-                            false, true, true, false)), (String ((Ascii
-                            (true, false, false, true, false, true, true,
-                            false)), (String ((Ascii (false, false, true,
-                            true, false, true, true, false)), (String ((Ascii
-                            (true, true, false, false, true, false, true,
-                            false)), (String ((Ascii (true, false, true,
-                            false, false, true, true, false)), (String
-                            ((Ascii (true, false, false, false, true, true,
-                            true, false)), (String ((Ascii (true, false,
-                            true, false, true, true, true, false)), (String
-                            ((Ascii (true, false, true, false, false, true,
-                            true, false)), (String ((Ascii (false, true,
-                            true, true, false, true, true, false)), (String
-                            ((Ascii (true, true, false, false, false, true,
-                            true, false)), (String ((Ascii (true, false,
-                            true, false, false, true, true, false)), (String
-                            ((Ascii (false, true, true, true, false, false,
-                            true, false)), (String ((Ascii (true, false,
-                            true, false, true, true, true, false)), (String
-                            ((Ascii (true, false, true, true, false, true,
-                            true, false)), (String ((Ascii (false, true,
-                            false, false, false, true, true, false)), (String
-                            ((Ascii (true, false, true, false, false, true,
-                            true, false)), (String ((Ascii (false, true,
-                            false, false, true, true, true, false)),
-                            EmptyString))))))))))))))))))))))))))))))))))))))))))))))))))
-                            ((String ((Ascii (false, false, false, false,
-                            true, true, true, false)), (String ((Ascii (true,
-                            false, false, false, false, true, true, false)),
-                            (String ((Ascii (false, true, false, false, true,
-                            true, true, false)), (String ((Ascii (true, true,
-                            false, false, true, true, true, false)), (String
-                            ((Ascii (true, false, true, false, false, true,
-                            true, false)), (String ((Ascii (false, true,
-                            true, true, false, false, true, false)), (String
-                            ((Ascii (true, false, true, false, true, true,
-                            true, false)), (String ((Ascii (true, false,
-                            true, true, false, true, true, false)), (String
-                            ((Ascii (false, true, true, false, false, false,
-                            true, false)), (String ((Ascii (true, false,
-                            false, true, false, true, true, false)), (String
-                            ((Ascii (true, false, true, false, false, true,
-                            true, false)), (String ((Ascii (false, false,
-                            true, true, false, true, true, false)), (String
-                            ((Ascii (false, false, true, false, false, true,
-                            true, false)),
-                            EmptyString)))))))))))))))))))))))))) :: [])) :: [])))))))) }
+(** val writer_run :
+    wpolicy -> bytes -> (rtag * bytes) list -> fault option -> wresult **)
 
-(** val l_Addenda15 : layout **)
+let writer_run p le recs fo =
+  let (b1, r) = write_file p le recs (new_bw (new_sink fo)) in
+  let (b2, fr) = api_flush p b1 in
+  { wr_write = r; wr_flush = fr; wr_sink = b2.b_sink }
 
-let l_Addenda15 =
-  { l_name = (String ((Ascii (true, false, false, false, false, false, true,
-    false)), (String ((Ascii (false, false, true, false, false, true, true,
-    false)), (String ((Ascii (false, false, true, false, false, true, true,
-    false)), (String ((Ascii (true, false, true, false, false, true, true,
-    false)), (String ((Ascii (false, true, true, true, false, true, true,
-    false)), (String ((Ascii (false, false, true, false, false, true, true,
-    false)), (String ((Ascii (true, false, false, false, false, true, true,
-    false)), (String ((Ascii (true, false, false, false, true, true, false,
-    false)), (String ((Ascii (true, false, true, false, true, true, false,
-    false)), EmptyString)))))))))))))))))); l_ix = IRune; l_segs = ((SLit
-    ((Npos (XI (XI (XI (XO (XI XH)))))) :: [])) :: ((SRaw (String ((Ascii
-    (false, false, true, false, true, false, true, false)), (String ((Ascii
-    (true, false, false, true, true, true, true, false)), (String ((Ascii
-    (false, false, false, false, true, true, true, false)), (String ((Ascii
-    (true, false, true, false, false, true, true, false)), (String ((Ascii
-    (true, true, false, false, false, false, true, false)), (String ((Ascii
-    (true, true, true, true, false, true, true, false)), (String ((Ascii
-    (false, false, true, false, false, true, true, false)), (String ((Ascii
-    (true, false, true, false, false, true, true, false)),
-    EmptyString))))))))))))))))) :: ((SAlpha ((String ((Ascii (false, true,
-    false, false, true, false, true, false)), (String ((Ascii (true, false,
-    true, false, false, true, true, false)), (String ((Ascii (true, true,
-    false, false, false, true, true, false)), (String ((Ascii (true, false,
-    true, false, false, true, true, false)), (String ((Ascii (true, false,
-    false, true, false, true, true, false)), (String ((Ascii (false, true,
-    true, false, true, true, true, false)), (String ((Ascii (true, false,
-    true, false, false, true, true, false)), (String ((Ascii (false, true,
-    false, false, true, true, true, false)), (String ((Ascii (true, false,
-    false, true, false, false, true, false)), (String ((Ascii (false, false,
-    true, false, false, false, true, false)), (String ((Ascii (false, true,
-    true, true, false, false, true, false)), (String ((Ascii (true, false,
-    true, false, true, true, true, false)), (String ((Ascii (true, false,
-    true, true, false, true, true, false)), (String ((Ascii (false, true,
-    false, false, false, true, true, false)), (String ((Ascii (true, false,
-    true, false, false, true, true, false)), (String ((Ascii (false, true,
-    false, false, true, true, true, false)),
-    EmptyString)))))))))))))))))))))))))))))))), (S (S (S (S (S (S (S (S (S
-    (S (S (S (S (S (S O))))))))))))))))) :: ((SAlpha ((String ((Ascii (false,
-    true, false, false, true, false, true, false)), (String ((Ascii (true,
-    false, true, false, false, true, true, false)), (String ((Ascii (true,
-    true, false, false, false, true, true, false)), (String ((Ascii (true,
-    false, true, false, false, true, true, false)), (String ((Ascii (true,
-    false, false, true, false, true, true, false)), (String ((Ascii (false,
-    true, true, false, true, true, true, false)), (String ((Ascii (true,
-    false, true, false, false, true, true, false)), (String ((Ascii (false,
-    true, false, false, true, true, true, false)), (String ((Ascii (true,
-    true, false, false, true, false, true, false)), (String ((Ascii (false,
-    false, true, false, true, true, true, false)), (String ((Ascii (false,
-    true, false, false, true, true, true, false)), (String ((Ascii (true,
-    false, true, false, false, true, true, false)), (String ((Ascii (true,
-    false, true, false, false, true, true, false)), (String ((Ascii (false,
-    false, true, false, true, true, true, false)), (String ((Ascii (true,
-    false, false, false, false, false, true, false)), (String ((Ascii (false,
-    false, true, false, false, true, true, false)), (String ((Ascii (false,
-    false, true, false, false, true, true, false)), (String ((Ascii (false,
-    true, false, false, true, true, true, false)), (String ((Ascii (true,
-    false, true, false, false, true, true, false)), (String ((Ascii (true,
-    true, false, false, true, true, true, false)), (String ((Ascii (true,
-    true, false, false, true, true, true, false)),
-    EmptyString)))))))))))))))))))))))))))))))))))))))))), (S (S (S (S (S (S
-    (S (S (S (S (S (S (S (S (S (S (S (S (S (S (S (S (S (S (S (S (S (S (S (S
-    (S (S (S (S (S O))))))))))))))))))))))))))))))))))))) :: ((SLit ((Npos
-    (XO (XO (XO (XO (XO XH)))))) :: ((Npos (XO (XO (XO (XO (XO
-    XH)))))) :: ((Npos (XO (XO (XO (XO (XO XH)))))) :: ((Npos (XO (XO (XO (XO
-    (XO XH)))))) :: ((Npos (XO (XO (XO (XO (XO XH)))))) :: ((Npos (XO (XO (XO
-    (XO (XO XH)))))) :: ((Npos (XO (XO (XO (XO (XO XH)))))) :: ((Npos (XO (XO
-    (XO (XO (XO XH)))))) :: ((Npos (XO (XO (XO (XO (XO XH)))))) :: ((Npos (XO
-    (XO (XO (XO (XO XH)))))) :: ((Npos (XO (XO (XO (XO (XO XH)))))) :: ((Npos
-    (XO (XO (XO (XO (XO XH)))))) :: ((Npos (XO (XO (XO (XO (XO
-    XH)))))) :: ((Npos (XO (XO (XO (XO (XO XH)))))) :: ((Npos (XO (XO (XO (XO
-    (XO XH)))))) :: ((Npos (XO (XO (XO (XO (XO XH)))))) :: ((Npos (XO (XO (XO
-    (XO (XO XH)))))) :: ((Npos (XO (XO (XO (XO (XO XH)))))) :: ((Npos (XO (XO
-    (XO (XO (XO XH)))))) :: ((Npos (XO (XO (XO (XO (XO XH)))))) :: ((Npos (XO
-    (XO (XO (XO (XO XH)))))) :: ((Npos (XO (XO (XO (XO (XO XH)))))) :: ((Npos
-    (XO (XO (XO (XO (XO XH)))))) :: ((Npos (XO (XO (XO (XO (XO
-    XH)))))) :: ((Npos (XO (XO (XO (XO (XO XH)))))) :: ((Npos (XO (XO (XO (XO
-    (XO XH)))))) :: ((Npos (XO (XO (XO (XO (XO XH)))))) :: ((Npos (XO (XO (XO
-    (XO (XO XH)))))) :: ((Npos (XO (XO (XO (XO (XO XH)))))) :: ((Npos (XO (XO
-    (XO (XO (XO XH)))))) :: ((Npos (XO (XO (XO (XO (XO XH)))))) :: ((Npos (XO
-    (XO (XO (XO (XO XH)))))) :: ((Npos (XO (XO (XO (XO (XO XH)))))) :: ((Npos
-    (XO (XO (XO (XO (XO
-    XH)))))) :: []))))))))))))))))))))))))))))))))))) :: ((SNum ((String
-    ((Ascii (true, false, true, false, false, false, true, false)), (String
-    ((Ascii (false, true, true, true, false, true, true, false)), (String
-    ((Ascii (false, false, true, false, true, true, true, false)), (String
-    ((Ascii (false, true, false, false, true, true, true, false)), (String
-    ((Ascii (true, false, false, true, true, true, true, false)), (String
-    ((Ascii (false, false, true, false, false, false, true, false)), (String
-    ((Ascii (true, false, true, false, false, true, true, false)), (String
-    ((Ascii (false, false, true, false, true, true, true, false)), (String
-    ((Ascii (true, false, false, false, false, true, true, false)), (String
-    ((Ascii (true, false, false, true, false, true, true, false)), (String
-    ((Ascii (false, false, true, true, false, true, true, false)), (String
-    ((Ascii (true, true, false, false, true, false, true, false)), (String
-    ((Ascii (true, false, true, false, false, true, true, false)), (String
-    ((Ascii (true, false, false, false, true, true, true, false)), (String
-    ((Ascii (true, false, true, false, true, true, true, false)), (String
-    ((Ascii (true, false, true, false, false, true, true, false)), (String
-    ((Ascii (false, true, true, true, false, true, true, false)), (String
-    ((Ascii (true, true, false, false, false, true, true, false)), (String
-    ((Ascii (true, false, true, false, false, true, true, false)), (String
-    ((Ascii (false, true, true, true, false, false, true, false)), (String
-    ((Ascii (true, false, true, false, true, true, true, false)), (String
-    ((Ascii (true, false, true, true, false, true, true, false)), (String
-    ((Ascii (false, true, false, false, false, true, true, false)), (String
-    ((Ascii (true, false, true, false, false, true, true, false)), (String
-    ((Ascii (false, true, false, false, true, true, true, false)),
-    EmptyString)))))))))))))))))))))))))))))))))))))))))))))))))), (S (S (S
-    (S (S (S (S O))))))))) :: [])))))); l_cuts =
-    ((mkcut O (S O) EmptyString []) :: ((mkcut (S O) (S (S (S O))) (String
-                                          ((Ascii (false, false, true, false,
-                                          true, false, true, false)), (String
-                                          ((Ascii (true, false, false, true,
-                                          true, true, true, false)), (String
-                                          ((Ascii (false, false, false,
-                                          false, true, true, true, false)),
-                                          (String ((Ascii (true, false, true,
-                                          false, false, true, true, false)),
-                                          (String ((Ascii (true, true, false,
-                                          false, false, false, true, false)),
-                                          (String ((Ascii (true, true, true,
-                                          true, false, true, true, false)),
-                                          (String ((Ascii (false, false,
-                                          true, false, false, true, true,
-                                          false)), (String ((Ascii (true,
-                                          false, true, false, false, true,
-                                          true, false)),
-                                          EmptyString)))))))))))))))) []) :: (
-    (mkcut (S (S (S O))) (S (S (S (S (S (S (S (S (S (S (S (S (S (S (S (S (S
-      (S O)))))))))))))))))) (String ((Ascii (false, true, false, false,
-      true, false, true, false)), (String ((Ascii (true, false, true, false,
-      false, true, true, false)), (String ((Ascii (true, true, false, false,
-      false, true, true, false)), (String ((Ascii (true, false, true, false,
-      false, true, true, false)), (String ((Ascii (true, false, false, true,
-      false, true, true, false)), (String ((Ascii (false, true, true, false,
-      true, true, true, false)), (String ((Ascii (true, false, true, false,
-      false, true, true, false)), (String ((Ascii (false, true, false, false,
-      true, true, true, false)), (String ((Ascii (true, false, false, true,
-      false, false, true, false)), (String ((Ascii (false, false, true,
-      false, false, false, true, false)), (String ((Ascii (false, true, true,
-      true, false, false, true, false)), (String ((Ascii (true, false, true,
-      false, true, true, true, false)), (String ((Ascii (true, false, true,
-      true, false, true, true, false)), (String ((Ascii (false, true, false,
-      false, false, true, true, false)), (String ((Ascii (true, false, true,
-      false, false, true, true, false)), (String ((Ascii (false, true, false,
-      false, true, true, true, false)),
-      EmptyString)))))))))))))))))))))))))))))))) ((String ((Ascii (false,
-      false, false, false, true, true, true, false)), (String ((Ascii (true,
-      false, false, false, false, true, true, false)), (String ((Ascii
-      (false, true, false, false, true, true, true, false)), (String ((Ascii
-      (true, true, false, false, true, true, true, false)), (String ((Ascii
-      (true, false, true, false, false, true, true, false)), (String ((Ascii
-      (true, true, false, false, true, false, true, false)), (String ((Ascii
-      (false, false, true, false, true, true, true, false)), (String ((Ascii
-      (false, true, false, false, true, true, true, false)), (String ((Ascii
-      (true, false, false, true, false, true, true, false)), (String ((Ascii
-      (false, true, true, true, false, true, true, false)), (String ((Ascii
-      (true, true, true, false, false, true, true, false)), (String ((Ascii
-      (false, true, true, false, false, false, true, false)), (String ((Ascii
-      (true, false, false, true, false, true, true, false)), (String ((Ascii
-      (true, false, true, false, false, true, true, false)), (String ((Ascii
-      (false, false, true, true, false, true, true, false)), (String ((Ascii
-      (false, false, true, false, false, true, true, false)),
-      EmptyString)))))))))))))))))))))))))))))))) :: [])) :: ((mkcut (S (S (S
-                                                                (S (S (S (S
-                                                                (S (S (S (S
-                                                                (S (S (S (S
-                                                                (S (S (S
-                                                                O))))))))))))))))))
-                                                                (S (S (S (S
-                                                                (S (S (S (S
-                                                                (S (S (S (S
-                                                                (S (S (S (S
-                                                                (S (S (S (S
-                                                                (S (S (S (S
-                                                                (S (S (S (S
-                                                                (S (S (S (S
-                                                                (S (S (S (S
-                                                                (S (S (S (S
-                                                                (S (S (S (S
-                                                                (S (S (S (S
-                                                                (S (S (S (S
-                                                                (S
-                                                                O)))))))))))))))))))))))))))))))))))))))))))))))))))))
-                                                                (String
-                                                                ((Ascii
-                                                                (false, true,
-                                                                false, false,
-                                                                true, false,
-                                                                true,
-                                                                false)),
-                                                                (String
-                                                                ((Ascii
-                                                                (true, false,
-                                                                true, false,
-                                                                false, true,
-                                                                true,
-                                                                false)),
-                                                                (String
-                                                                ((Ascii
-                                                                (true, true,
-                                                                false, false,
-                                                                false, true,
-                                                                true,
-                                                                false)),
-                                                                (String
-                                                                ((Ascii
-                                                                (true, false,
-                                                                true, false,
-                                                                false, true,
-                                                                true,
-                                                                false)),
-                                                                (String
-                                                                ((Ascii
-                                                                (true, false,
-                                                                false, true,
-                                                                false, true,
-                                                                true,
-                                                                false)),
-                                                                (String
-                                                                ((Ascii
-                                                                (false, true,
-                                                                true, false,
-                                                                true, true,
-                                                                true,
-                                                                false)),
-                                                                (String
-                                                                ((Ascii
-                                                                (true, false,
-                                                                true, false,
-                                                                false, true,
-                                                                true,
-                                                                false)),
-                                                                (String
-                                                                ((Ascii
-                                                                (false, true,
-                                                                false, false,
-                                                                true, true,
-                                                                true,
-                                                                false)),
-                                                                (String
-                                                                ((Ascii
-                                                                (true, true,
-                                                                false, false,
-                                                                true, false,
-                                                                true,
-                                                                false)),
-                                                                (String
-                                                                ((Ascii
-                                                                (false,
-                                                                false, true,
-                                                                false, true,
-                                                                true, true,
-                                                                false)),
-                                                                (String
-                                                                ((Ascii
-                                                                (false, true,
-                                                                false, false,
-                                                                true, true,
-                                                                true,
-                                                                false)),
-                                                                (String
-                                                                ((Ascii
-                                                                (true, false,
-                                                                true, false,
-                                                                false, true,
-                                                                true,
-                                                                false)),
-                                                                (String
-                                                                ((Ascii
-                                                                (true, false,
-                                                                true, false,
-                                                                false, true,
-                                                                true,
-                                                                false)),
-                                                                (String
-                                                                ((Ascii
-                                                                (false,
-                                                                false, true,
-                                                                false, true,
-                                                                true, true,
-                                                                false)),
-                                                                (String
-                                                                ((Ascii
-                                                                (true, false,
-                                                                false, false,
-                                                                false, false,
-                                                                true,
-                                                                false)),
-                                                                (String
-                                                                ((Ascii
-                                                                (false,
-                                                                false, true,
-                                                                false, false,
-                                                                true, true,
-                                                                false)),
-                                                                (String
-                                                                ((Ascii
-                                                                (false,
-                                                                false, true,
-                                                                false, false,
-                                                                true, true,
-                                                                false)),
-                                                                (String
-                                                                ((Ascii
-                                                                (false, true,
-                                                                false, false,
-                                                                true, true,
-                                                                true,
-                                                                false)),
-                                                                (String
-                                                                ((Ascii
-                                                                (true, false,
-                                                                true, false,
-                                                                false, true,
-                                                                true,
-                                                                false)),
-                                                                (String
-                                                                ((Ascii
-                                                                (true, true,
-                                                                false, false,
-                                                                true, true,
-                                                                true,
-                                                                false)),
-                                                                (String
-                                                                ((Ascii
-                                                                (true, true,
-                                                                false, false,
-                                                                true, true,
-                                                                true,
-                                                                false)),
-                                                                EmptyString))))))))))))))))))))))))))))))))))))))))))
-                                                                ((String
-                                                                ((Ascii
-                                                                (true, true,
-                                                                false, false,
-                                                                true, true,
-                                                                true,
-                                                                false)),
-                                                                (String
-                                                                ((Ascii
-                                                                (false,
-                                                                false, true,
-                                                                false, true,
-                                                                true, true,
-                                                                false)),
-                                                                (String
-                                                                ((Ascii
-                                                                (false, true,
-                                                                false, false,
-                                                                true, true,
-                                                                true,
-                                                                false)),
-                                                                (String
-                                                                ((Ascii
-                                                                (true, false,
-                                                                false, true,
-                                                                false, true,
-                                                                true,
-                                                                false)),
-                                                                (String
-                                                                ((Ascii
-                                                                (false, true,
-                                                                true, true,
-                                                                false, true,
-                                                                true,
-                                                                false)),
-                                                                (String
-                                                                ((Ascii
-                                                                (true, true,
-                                                                true, false,
-                                                                false, true,
-                                                                true,
-                                                                false)),
-                                                                (String
-                                                                ((Ascii
-                                                                (true, true,
-                                                                false, false,
-                                                                true, true,
-                                                                true,
-                                                                false)),
-                                                                (String
-                                                                ((Ascii
-                                                                (false, true,
-                                                                true, true,
-                                                                false, true,
-                                                                false,
-                                                                false)),
-                                                                (String
-                                                                ((Ascii
-                                                                (false,
-                                                                false, true,
-                                                                false, true,
-                                                                false, true,
-                                                                false)),
-                                                                (String
-                                                                ((Ascii
-                                                                (false, true,
-                                                                false, false,
-                                                                true, true,
-                                                                true,
-                                                                false)),
-                                                                (String
-                                                                ((Ascii
-                                                                (true, false,
-                                                                false, true,
-                                                                false, true,
-                                                                true,
-                                                                false)),
-                                                                (String
-                                                                ((Ascii
-                                                                (true, false,
-                                                                true, true,
-                                                                false, true,
-                                                                true,
-                                                                false)),
-                                                                (String
-                                                                ((Ascii
-                                                                (true, true,
-                                                                false, false,
-                                                                true, false,
-                                                                true,
-                                                                false)),
-                                                                (String
-                                                                ((Ascii
-                                                                (false,
-                                                                false, false,
-                                                                false, true,
-                                                                true, true,
-                                                                false)),
-                                                                (String
-                                                                ((Ascii
-                                                                (true, false,
-                                                                false, false,
-                                                                false, true,
-                                                                true,
-                                                                false)),
-                                                                (String
-                                                                ((Ascii
-                                                                (true, true,
-                                                                false, false,
-                                                                false, true,
-                                                                true,
-                                                                false)),
-                                                                (String
-                                                                ((Ascii
-                                                                (true, false,
-                                                                true, false,
-                                                                false, true,
-                                                                true,
-                                                                false)),
-                                                                EmptyString)))))))))))))))))))))))))))))))))) :: [])) :: (
-    (mkcut (S (S (S (S (S (S (S (S (S (S (S (S (S (S (S (S (S (S (S (S (S (S
-      (S (S (S (S (S (S (S (S (S (S (S (S (S (S (S (S (S (S (S (S (S (S (S (S
-      (S (S (S (S (S (S (S
-      O))))))))))))))))))))))))))))))))))))))))))))))))))))) (S (S (S (S (S
-      (S (S (S (S (S (S (S (S (S (S (S (S (S (S (S (S (S (S (S (S (S (S (S (S
-      (S (S (S (S (S (S (S (S (S (S (S (S (S (S (S (S (S (S (S (S (S (S (S (S
-      (S (S (S (S (S (S (S (S (S (S (S (S (S (S (S (S (S (S (S (S (S (S (S (S
-      (S (S (S (S (S (S (S (S (S (S
-      O)))))))))))))))))))))))))))))))))))))))))))))))))))))))))))))))))))))))))))))))))))))))
-      EmptyString []) :: ((mkcut (S (S (S (S (S (S (S (S (S (S (S (S (S (S (S
-                            (S (S (S (S (S (S (S (S (S (S (S (S (S (S (S (S
-                            (S (S (S (S (S (S (S (S (S (S (S (S (S (S (S (S
-                            (S (S (S (S (S (S (S (S (S (S (S (S (S (S (S (S
-                            (S (S (S (S (S (S (S (S (S (S (S (S (S (S (S (S
-                            (S (S (S (S (S (S (S (S
-                            O)))))))))))))))))))))))))))))))))))))))))))))))))))))))))))))))))))))))))))))))))))))))
-                            (S (S (S (S (S (S (S (S (S (S (S (S (S (S (S (S
-                            (S (S (S (S (S (S (S (S (S (S (S (S (S (S (S (S
-                            (S (S (S (S (S (S (S (S (S (S (S (S (S (S (S (S
-                            (S (S (S (S (S (S (S (S (S (S (S (S (S (S (S (S
-                            (S (S (S (S (S (S (S (S (S (S (S (S (S (S (S (S
-                            (S (S (S (S (S (S (S (S (S (S (S (S (S (S
-                            O))))))))))))))))))))))))))))))))))))))))))))))))))))))))))))))))))))))))))))))))))))))))))))))
-                            (String ((Ascii (true, false, true, false, false,
-                            false, true, false)), (String ((Ascii (false,
-                            true, true, true, false, true, true, false)),
-                            (String ((Ascii (false, false, true, false, true,
-                            true, true, false)), (String ((Ascii (false,
-                            true, false, false, true, true, true, false)),
-                            (String ((Ascii (true, false, false, true, true,
-                            true, true, false)), (String ((Ascii (false,
-                            false, true, false, false, false, true, false)),
-                            (String ((Ascii (true, false, true, false, false,
-                            true, true, false)), (String ((Ascii (false,
-                            false, true, false, true, true, true, false)),
-                            (String ((Ascii (true, false, false, false,
-                            false, true, true, false)), (String ((Ascii
-                            (true, false, false, true, false, true, true,
-                            false)), (String ((Ascii (false, false, true,
-                            true, false, true, true, false)), (String ((Ascii
-                            (true, true, false, false, true, false, true,
-                            false)), (String ((Ascii (true, false, true,
-                            false, false, true, true, false)), (String
-                            ((Ascii (true, false, false, false, true, true,
-                            true, false)), (String ((Ascii (true, false,
-                            true, false, true, true, true, false)), (String
-                            ((Ascii (true, false, true, false, false, true,
-                            true, false)), (String ((Ascii (false, true,
-                            true, true, false, true, true, false)), (String
-                            ((Ascii (true, true, false, false, false, true,
-                            true, false)), (String ((Ascii (true, false,
-                            true, false, false, true, true, false)), (String
-                            ((Ascii (false, true, true, true, false, false,
-                            true, false)), (String ((Ascii (true, false,
-                            true, false, true, true, true, false)), (String
-                            ((Ascii (true, false, true, true, false, true,
-                            true, false)), (String ((Ascii (false, true,
-                            false, false, false, true, true, false)), (String
-                            ((Ascii (true, false, true, false, false, true,
-                            true, false)), (String ((Ascii (false, true,
-                            false, false, true, true, true, false)),
-                            EmptyString))))))))))))))))))))))))))))))))))))))))))))))))))
-                            ((String ((Ascii (false, false, false, false,
-                            true, true, true, false)), (String ((Ascii (true,
-                            false, false, false, false, true, true, false)),
-                            (String ((Ascii (false, true, false, false, true,
-                            true, true, false)), (String ((Ascii (true, true,
-                            false, false, true, true, true, false)), (String
-                            ((Ascii (true, false, true, false, false, true,
-                            true, false)), (String ((Ascii (false, true,
-                            true, true, false, false, true, false)), (String
-                            ((Ascii (true, false, true, false, true, true,
-                            true, false)), (String ((Ascii (true, false,
-                            true, true, false, true, true, false)), (String
-                            ((Ascii (false, true, true, false, false, false,
-                            true, false)), (String ((Ascii (true, false,
-                            false, true, false, true, true, false)), (String
-                            ((Ascii (true, false, true, false, false, true,
-                            true, false)), (String ((Ascii (false, false,
-                            true, true, false, true, true, false)), (String
-                            ((Ascii (false, false, true, false, false, true,
-                            true, false)),
-                            EmptyString)))))))))))))))))))))))))) :: [])) :: [])))))) }
+(** val rec_bytes : bytes -> (rtag * bytes) list -> bytes **)
 
-(** val l_Addenda16 : layout **)
+let rec_bytes le recs =
+  concat (map (fun r -> if nonempty (snd r) then app (snd r) le else []) recs)
 
-let l_Addenda16 =
-  { l_name = (String ((Ascii (true, false, false, false, false, false, true,
-    false)), (String ((Ascii (false, false, true, false, false, true, true,
-    false)), (String ((Ascii (false, false, true, false, false, true, true,
-    false)), (String ((Ascii (true, false, true, false, false, true, true,
-    false)), (String ((Ascii (false, true, true, true, false, true, true,
-    false)), (String ((Ascii (false, false, true, false, false, true, true,
-    false)), (String ((Ascii (true, false, false, false, false, true, true,
-    false)), (String ((Ascii (true, false, false, false, true, true, false,
-    false)), (String ((Ascii (false, true, true, false, true, true, false,
-    false)), EmptyString)))))))))))))))))); l_ix = IRune; l_segs = ((SLit
-    ((Npos (XI (XI (XI (XO (XI XH)))))) :: [])) :: ((SRaw (String ((Ascii
-    (false, false, true, false, true, false, true, false)), (String ((Ascii
-    (true, false, false, true, true, true, true, false)), (String ((Ascii
-    (false, false, false, false, true, true, true, false)), (String ((Ascii
-    (true, false, true, false, false, true, true, false)), (String ((Ascii
-    (true, true, false, false, false, false, true, false)), (String ((Ascii
-    (true, true, true, true, false, true, true, false)), (String ((Ascii
-    (false, false, true, false, false, true, true, false)), (String ((Ascii
-    (true, false, true, false, false, true, true, false)),
-    EmptyString))))))))))))))))) :: ((SAlpha ((String ((Ascii (false, true,
-    false, false, true, false, true, false)), (String ((Ascii (true, false,
-    true, false, false, true, true, false)), (String ((Ascii (true, true,
-    false, false, false, true, true, false)), (String ((Ascii (true, false,
-    true, false, false, true, true, false)), (String ((Ascii (true, false,
-    false, true, false, true, true, false)), (String ((Ascii (false, true,
-    true, false, true, true, true, false)), (String ((Ascii (true, false,
-    true, false, false, true, true, false)), (String ((Ascii (false, true,
-    false, false, true, true, true, false)), (String ((Ascii (true, true,
-    false, false, false, false, true, false)), (String ((Ascii (true, false,
-    false, true, false, true, true, false)), (String ((Ascii (false, false,
-    true, false, true, true, true, false)), (String ((Ascii (true, false,
-    false, true, true, true, true, false)), (String ((Ascii (true, true,
-    false, false, true, false, true, false)), (String ((Ascii (false, false,
-    true, false, true, true, true, false)), (String ((Ascii (true, false,
-    false, false, false, true, true, false)), (String ((Ascii (false, false,
-    true, false, true, true, true, false)), (String ((Ascii (true, false,
-    true, false, false, true, true, false)), (String ((Ascii (false, false,
-    false, false, true, false, true, false)), (String ((Ascii (false, true,
-    false, false, true, true, true, false)), (String ((Ascii (true, true,
-    true, true, false, true, true, false)), (String ((Ascii (false, true,
-    true, false, true, true, true, false)), (String ((Ascii (true, false,
-    false, true, false, true, true, false)), (String ((Ascii (false, true,
-    true, true, false, true, true, false)), (String ((Ascii (true, true,
-    false, false, false, true, true, false)), (String ((Ascii (true, false,
-    true, false, false, true, true, false)),
-    EmptyString)))))))))))))))))))))))))))))))))))))))))))))))))), (S (S (S
-    (S (S (S (S (S (S (S (S (S (S (S (S (S (S (S (S (S (S (S (S (S (S (S (S
-    (S (S (S (S (S (S (S (S
-    O))))))))))))))))))))))))))))))))))))) :: ((SAlpha ((String ((Ascii
-    (false, true, false, false, true, false, true, false)), (String ((Ascii
-    (true, false, true, false, false, true, true, false)), (String ((Ascii
-    (true, true, false, false, false, true, true, false)), (String ((Ascii
-    (true, false, true, false, false, true, true, false)), (String ((Ascii
-    (true, false, false, true, false, true, true, false)), (String ((Ascii
-    (false, true, true, false, true, true, true, false)), (String ((Ascii
-    (true, false, true, false, false, true, true, false)), (String ((Ascii
-    (false, true, false, false, true, true, true, false)), (String ((Ascii
-    (true, true, false, false, false, false, true, false)), (String ((Ascii
-    (true, true, true, true, false, true, true, false)), (String ((Ascii
-    (true, false, true, false, true, true, true, false)), (String ((Ascii
-    (false, true, true, true, false, true, true, false)), (String ((Ascii
-    (false, false, true, false, true, true, true, false)), (String ((Ascii
-    (false, true, false, false, true, true, true, false)), (String ((Ascii
-    (true, false, false, true, true, true, true, false)), (String ((Ascii
-    (false, false, false, false, true, false, true, false)), (String ((Ascii
-    (true, true, true, true, false, true, true, false)), (String ((Ascii
-    (true, true, false, false, true, true, true, false)), (String ((Ascii
-    (false, false, true, false, true, true, true, false)), (String ((Ascii
-    (true, false, false, false, false, true, true, false)), (String ((Ascii
-    (false, false, true, true, false, true, true, false)), (String ((Ascii
-    (true, true, false, false, false, false, true, false)), (String ((Ascii
-    (true, true, true, true, false, true, true, false)), (String ((Ascii
-    (false, false, true, false, false, true, true, false)), (String ((Ascii
-    (true, false, true, false, false, true, true, false)),
-    EmptyString)))))))))))))))))))))))))))))))))))))))))))))))))), (S (S (S
-    (S (S (S (S (S (S (S (S (S (S (S (S (S (S (S (S (S (S (S (S (S (S (S (S
-    (S (S (S (S (S (S (S (S O))))))))))))))))))))))))))))))))))))) :: ((SLit
-    ((Npos (XO (XO (XO (XO (XO XH)))))) :: ((Npos (XO (XO (XO (XO (XO
-    XH)))))) :: ((Npos (XO (XO (XO (XO (XO XH)))))) :: ((Npos (XO (XO (XO (XO
-    (XO XH)))))) :: ((Npos (XO (XO (XO (XO (XO XH)))))) :: ((Npos (XO (XO (XO
-    (XO (XO XH)))))) :: ((Npos (XO (XO (XO (XO (XO XH)))))) :: ((Npos (XO (XO
-    (XO (XO (XO XH)))))) :: ((Npos (XO (XO (XO (XO (XO XH)))))) :: ((Npos (XO
-    (XO (XO (XO (XO XH)))))) :: ((Npos (XO (XO (XO (XO (XO XH)))))) :: ((Npos
-    (XO (XO (XO (XO (XO XH)))))) :: ((Npos (XO (XO (XO (XO (XO
-    XH)))))) :: ((Npos (XO (XO (XO (XO (XO
-    XH)))))) :: []))))))))))))))) :: ((SNum ((String ((Ascii (true, false,
-    true, false, false, false, true, false)), (String ((Ascii (false, true,
-    true, true, false, true, true, false)), (String ((Ascii (false, false,
-    true, false, true, true, true, false)), (String ((Ascii (false, true,
-    false, false, true, true, true, false)), (String ((Ascii (true, false,
-    false, true, true, true, true, false)), (String ((Ascii (false, false,
-    true, false, false, false, true, false)), (String ((Ascii (true, false,
-    true, false, false, true, true, false)), (String ((Ascii (false, false,
-    true, false, true, true, true, false)), (String ((Ascii (true, false,
-    false, false, false, true, true, false)), (String ((Ascii (true, false,
-    false, true, false, true, true, false)), (String ((Ascii (false, false,
-    true, true, false, true, true, false)), (String ((Ascii (true, true,
-    false, false, true, false, true, false)), (String ((Ascii (true, false,
-    true, false, false, true, true, false)), (String ((Ascii (true, false,
-    false, false, true, true, true, false)), (String ((Ascii (true, false,
-    true, false, true, true, true, false)), (String ((Ascii (true, false,
-    true, false, false, true, true, false)), (String ((Ascii (false, true,
-    true, true, false, true, true, false)), (String ((Ascii (true, true,
-    false, false, false, true, true, false)), (String ((Ascii (true, false,
-    true, false, false, true, true, false)), (String ((Ascii (false, true,
-    true, true, false, false, true, false)), (String ((Ascii (true, false,
-    true, false, true, true, true, false)), (String ((Ascii (true, false,
-    true, true, false, true, true, false)), (String ((Ascii (false, true,
-    false, false, false, true, true, false)), (String ((Ascii (true, false,
-    true, false, false, true, true, false)), (String ((Ascii (false, true,
-    false, false, true, true, true, false)),
-    EmptyString)))))))))))))))))))))))))))))))))))))))))))))))))), (S (S (S
-    (S (S (S (S O))))))))) :: [])))))); l_cuts =
-    ((mkcut O (S O) EmptyString []) :: ((mkcut (S O) (S (S (S O))) (String
-                                          ((Ascii (false, false, true, false,
-                                          true, false, true, false)), (String
-                                          ((Ascii (true, false, false, true,
-                                          true, true, true, false)), (String
-                                          ((Ascii (false, false, false,
-                                          false, true, true, true, false)),
-                                          (String ((Ascii (true, false, true,
-                                          false, false, true, true, false)),
-                                          (String ((Ascii (true, true, false,
-                                          false, false, false, true, false)),
-                                          (String ((Ascii (true, true, true,
-                                          true, false, true, true, false)),
-                                          (String ((Ascii (false, false,
-                                          true, false, false, true, true,
-                                          false)), (String ((Ascii (true,
-                                          false, true, false, false, true,
-                                          true, false)),
-                                          EmptyString)))))))))))))))) []) :: (
-    (mkcut (S (S (S O))) (S (S (S (S (S (S (S (S (S (S (S (S (S (S (S (S (S
-      (S (S (S (S (S (S (S (S (S (S (S (S (S (S (S (S (S (S (S (S (S
-      O)))))))))))))))))))))))))))))))))))))) (String ((Ascii (false, true,
-      false, false, true, false, true, false)), (String ((Ascii (true, false,
-      true, false, false, true, true, false)), (String ((Ascii (true, true,
-      false, false, false, true, true, false)), (String ((Ascii (true, false,
-      true, false, false, true, true, false)), (String ((Ascii (true, false,
-      false, true, false, true, true, false)), (String ((Ascii (false, true,
-      true, false, true, true, true, false)), (String ((Ascii (true, false,
-      true, false, false, true, true, false)), (String ((Ascii (false, true,
-      false, false, true, true, true, false)), (String ((Ascii (true, true,
-      false, false, false, false, true, false)), (String ((Ascii (true,
-      false, false, true, false, true, true, false)), (String ((Ascii (false,
-      false, true, false, true, true, true, false)), (String ((Ascii (true,
-      false, false, true, true, true, true, false)), (String ((Ascii (true,
-      true, false, false, true, false, true, false)), (String ((Ascii (false,
-      false, true, false, true, true, true, false)), (String ((Ascii (true,
-      false, false, false, false, true, true, false)), (String ((Ascii
-      (false, false, true, false, true, true, true, false)), (String ((Ascii
-      (true, false, true, false, false, true, true, false)), (String ((Ascii
-      (false, false, false, false, true, false, true, false)), (String
-      ((Ascii (false, true, false, false, true, true, true, false)), (String
-      ((Ascii (true, true, true, true, false, true, true, false)), (String
-      ((Ascii (false, true, true, false, true, true, true, false)), (String
-      ((Ascii (true, false, false, true, false, true, true, false)), (String
-      ((Ascii (false, true, true, true, false, true, true, false)), (String
-      ((Ascii (true, true, false, false, false, true, true, false)), (String
-      ((Ascii (true, false, true, false, false, true, true, false)),
-      EmptyString)))))))))))))))))))))))))))))))))))))))))))))))))) ((String
-      ((Ascii (true, true, false, false, true, true, true, false)), (String
-      ((Ascii (false, false, true, false, true, true, true, false)), (String
-      ((Ascii (false, true, false, false, true, true, true, false)), (String
-      ((Ascii (true, false, false, true, false, true, true, false)), (String
-      ((Ascii (false, true, true, true, false, true, true, false)), (String
-      ((Ascii (true, true, true, false, false, true, true, false)), (String
-      ((Ascii (true, true, false, false, true, true, true, false)), (String
-      ((Ascii (false, true, true, true, false, true, false, false)), (String
-      ((Ascii (false, false, true, false, true, false, true, false)), (String
-      ((Ascii (false, true, false, false, true, true, true, false)), (String
-      ((Ascii (true, false, false, true, false, true, true, false)), (String
-      ((Ascii (true, false, true, true, false, true, true, false)), (String
-      ((Ascii (true, true, false, false, true, false, true, false)), (String
-      ((Ascii (false, false, false, false, true, true, true, false)), (String
-      ((Ascii (true, false, false, false, false, true, true, false)), (String
-      ((Ascii (true, true, false, false, false, true, true, false)), (String
-      ((Ascii (true, false, true, false, false, true, true, false)),
-      EmptyString)))))))))))))))))))))))))))))))))) :: [])) :: ((mkcut (S (S
-                                                                  (S (S (S (S
-                                                                  (S (S (S (S
-                                                                  (S (S (S (S
-                                                                  (S (S (S (S
-                                                                  (S (S (S (S
-                                                                  (S (S (S (S
-                                                                  (S (S (S (S
-                                                                  (S (S (S (S
-                                                                  (S (S (S (S
-                                                                  O))))))))))))))))))))))))))))))))))))))
-                                                                  (S (S (S (S
-                                                                  (S (S (S (S
-                                                                  (S (S (S (S
-                                                                  (S (S (S (S
-                                                                  (S (S (S (S
-                                                                  (S (S (S (S
-                                                                  (S (S (S (S
-                                                                  (S (S (S (S
-                                                                  (S (S (S (S
-                                                                  (S (S (S (S
-                                                                  (S (S (S (S
-                                                                  (S (S (S (S
-                                                                  (S (S (S (S
-                                                                  (S (S (S (S
-                                                                  (S (S (S (S
-                                                                  (S (S (S (S
-                                                                  (S (S (S (S
-                                                                  (S (S (S (S
-                                                                  (S
-                                                                  O)))))))))))))))))))))))))))))))))))))))))))))))))))))))))))))))))))))))))
-                                                                  (String
-                                                                  ((Ascii
-                                                                  (false,
-                                                                  true,
-                                                                  false,
-                                                                  false,
-                                                                  true,
-                                                                  false,
-                                                                  true,
-                                                                  false)),
-                                                                  (String
-                                                                  ((Ascii
-                                                                  (true,
-                                                                  false,
-                                                                  true,
-                                                                  false,
-                                                                  false,
-                                                                  true, true,
-                                                                  false)),
-                                                                  (String
-                                                                  ((Ascii
-                                                                  (true,
-                                                                  true,
-                                                                  false,
-                                                                  false,
-                                                                  false,
-                                                                  true, true,
-                                                                  false)),
-                                                                  (String
-                                                                  ((Ascii
-                                                                  (true,
-                                                                  false,
-                                                                  true,
-                                                                  false,
-                                                                  false,
-                                                                  true, true,
-                                                                  false)),
-                                                                  (String
-                                                                  ((Ascii
-                                                                  (true,
-                                                                  false,
-                                                                  false,
-                                                                  true,
-                                                                  false,
-                                                                  true, true,
-                                                                  false)),
-                                                                  (String
-                                                                  ((Ascii
-                                                                  (false,
-                                                                  true, true,
-                                                                  false,
-                                                                  true, true,
-                                                                  true,
-                                                                  false)),
-                                                                  (String
-                                                                  ((Ascii
-                                                                  (true,
-                                                                  false,
-                                                                  true,
-                                                                  false,
-                                                                  false,
-                                                                  true, true,
-                                                                  false)),
-                                                                  (String
-                                                                  ((Ascii
-                                                                  (false,
-                                                                  true,
-                                                                  false,
-                                                                  false,
-                                                                  true, true,
-                                                                  true,
-                                                                  false)),
-                                                                  (String
-                                                                  ((Ascii
-                                                                  (true,
-                                                                  true,
-                                                                  false,
-                                                                  false,
-                                                                  false,
-                                                                  false,
-                                                                  true,
-                                                                  false)),
-                                                                  (String
-                                                                  ((Ascii
-                                                                  (true,
-                                                                  true, true,
-                                                                  true,
-                                                                  false,
-                                                                  true, true,
-                                                                  false)),
-                                                                  (String
-                                                                  ((Ascii
-                                                                  (true,
-                                                                  false,
-                                                                  true,
-                                                                  false,
-                                                                  true, true,
-                                                                  true,
-                                                                  false)),
-                                                                  (String
-                                                                  ((Ascii
-                                                                  (false,
-                                                                  true, true,
-                                                                  true,
-                                                                  false,
-                                                                  true, true,
-                                                                  false)),
-                                                                  (String
-                                                                  ((Ascii
-                                                                  (false,
-                                                                  false,
-                                                                  true,
-                                                                  false,
-                                                                  true, true,
-                                                                  true,
-                                                                  false)),
-                                                                  (String
-                                                                  ((Ascii
-                                                                  (false,
-                                                                  true,
-                                                                  false,
-                                                                  false,
-                                                                  true, true,
-                                                                  true,
-                                                                  false)),
-                                                                  (String
-                                                                  ((Ascii
-                                                                  (true,
-                                                                  false,
-                                                                  false,
-                                                                  true, true,
-                                                                  true, true,
-                                                                  false)),
-                                                                  (String
-                                                                  ((Ascii
-                                                                  (false,
-                                                                  false,
-                                                                  false,
-                                                                  false,
-                                                                  true,
-                                                                  false,
-                                                                  true,
-                                                                  false)),
-                                                                  (String
-                                                                  ((Ascii
-                                                                  (true,
-                                                                  true, true,
-                                                                  true,
-                                                                  false,
-                                                                  true, true,
-                                                                  false)),
-                                                                  (String
-                                                                  ((Ascii
-                                                                  (true,
-                                                                  true,
-                                                                  false,
-                                                                  false,
-                                                                  true, true,
-                                                                  true,
-                                                                  false)),
-                                                                  (String
-                                                                  ((Ascii
-                                                                  (false,
-                                                                  false,
-                                                                  true,
-                                                                  false,
-                                                                  true, true,
-                                                                  true,
-                                                                  false)),
-                                                                  (String
-                                                                  ((Ascii
-                                                                  (true,
-                                                                  false,
-                                                                  false,
-                                                                  false,
-                                                                  false,
-                                                                  true, true,
-                                                                  false)),
-                                                                  (String
-                                                                  ((Ascii
-                                                                  (false,
-                                                                  false,
-                                                                  true, true,
-                                                                  false,
-                                                                  true, true,
-                                                                  false)),
-                                                                  (String
-                                                                  ((Ascii
-                                                                  (true,
-                                                                  true,
-                                                                  false,
-                                                                  false,
-                                                                  false,
-                                                                  false,
-                                                                  true,
-                                                                  false)),
-                                                                  (String
-                                                                  ((Ascii
-                                                                  (true,
-                                                                  true, true,
-                                                                  true,
-                                                                  false,
-                                                                  true, true,
-                                                                  false)),
-                                                                  (String
-                                                                  ((Ascii
-                                                                  (false,
-                                                                  false,
-                                                                  true,
-                                                                  false,
-                                                                  false,
-                                                                  true, true,
-                                                                  false)),
-                                                                  (String
-                                                                  ((Ascii
-                                                                  (true,
-                                                                  false,
-                                                                  true,
-                                                                  false,
-                                                                  false,
-                                                                  true, true,
-                                                                  false)),
-                                                                  EmptyString))))))))))))))))))))))))))))))))))))))))))))))))))
-                                                                  ((String
-                                                                  ((Ascii
-                                                                  (true,
-                                                                  true,
-                                                                  false,
-                                                                  false,
-                                                                  true, true,
-                                                                  true,
-                                                                  false)),
-                                                                  (String
-                                                                  ((Ascii
-                                                                  (false,
-                                                                  false,
-                                                                  true,
-                                                                  false,
-                                                                  true, true,
-                                                                  true,
-                                                                  false)),
-                                                                  (String
-                                                                  ((Ascii
-                                                                  (false,
-                                                                  true,
-                                                                  false,
-                                                                  false,
-                                                                  true, true,
-                                                                  true,
-                                                                  false)),
-                                                                  (String
-                                                                  ((Ascii
-                                                                  (true,
-                                                                  false,
-                                                                  false,
-                                                                  true,
-                                                                  false,
-                                                                  true, true,
-                                                                  false)),
-                                                                  (String
-                                                                  ((Ascii
-                                                                  (false,
-                                                                  true, true,
-                                                                  true,
-                                                                  false,
-                                                                  true, true,
-                                                                  false)),
-                                                                  (String
-                                                                  ((Ascii
-                                                                  (true,
-                                                                  true, true,
-                                                                  false,
-                                                                  false,
-                                                                  true, true,
-                                                                  false)),
-                                                                  (String
-                                                                  ((Ascii
-                                                                  (true,
-                                                                  true,
-                                                                  false,
-                                                                  false,
-                                                                  true, true,
-                                                                  true,
-                                                                  false)),
-                                                                  (String
-                                                                  ((Ascii
-                                                                  (false,
-                                                                  true, true,
-                                                                  true,
-                                                                  false,
-                                                                  true,
-                                                                  false,
-                                                                  false)),
-                                                                  (String
-                                                                  ((Ascii
-                                                                  (false,
-                                                                  false,
-                                                                  true,
-                                                                  false,
-                                                                  true,
-                                                                  false,
-                                                                  true,
-                                                                  false)),
-                                                                  (String
-                                                                  ((Ascii
-                                                                  (false,
-                                                                  true,
-                                                                  false,
-                                                                  false,
-                                                                  true, true,
-                                                                  true,
-                                                                  false)),
-                                                                  (String
-                                                                  ((Ascii
-                                                                  (true,
-                                                                  false,
-                                                                  false,
-                                                                  true,
-                                                                  false,
-                                                                  true, true,
-                                                                  false)),
-                                                                  (String
-                                                                  ((Ascii
-                                                                  (true,
-                                                                  false,
-                                                                  true, true,
-                                                                  false,
-                                                                  true, true,
-                                                                  false)),
-                                                                  (String
-                                                                  ((Ascii
-                                                                  (true,
-                                                                  true,
-                                                                  false,
-                                                                  false,
-                                                                  true,
-                                                                  false,
-                                                                  true,
-                                                                  false)),
-                                                                  (String
-                                                                  ((Ascii
-                                                                  (false,
-                                                                  false,
-                                                                  false,
-                                                                  false,
-                                                                  true, true,
-                                                                  true,
-                                                                  false)),
-                                                                  (String
-                                                                  ((Ascii
-                                                                  (true,
-                                                                  false,
-                                                                  false,
-                                                                  false,
-                                                                  false,
-                                                                  true, true,
-                                                                  false)),
-                                                                  (String
-                                                                  ((Ascii
-                                                                  (true,
-                                                                  true,
-                                                                  false,
-                                                                  false,
-                                                                  false,
-                                                                  true, true,
-                                                                  false)),
-                                                                  (String
-                                                                  ((Ascii
-                                                                  (true,
-                                                                  false,
-                                                                  true,
-                                                                  false,
-                                                                  false,
-                                                                  true, true,
-                                                                  false)),
-                                                                  EmptyString)))))))))))))))))))))))))))))))))) :: [])) :: (
-    (mkcut (S (S (S (S (S (S (S (S (S (S (S (S (S (S (S (S (S (S (S (S (S (S
-      (S (S (S (S (S (S (S (S (S (S (S (S (S (S (S (S (S (S (S (S (S (S (S (S
-      (S (S (S (S (S (S (S (S (S (S (S (S (S (S (S (S (S (S (S (S (S (S (S (S
-      (S (S (S
-      O)))))))))))))))))))))))))))))))))))))))))))))))))))))))))))))))))))))))))
-      (S (S (S (S (S (S (S (S (S (S (S (S (S (S (S (S (S (S (S (S (S (S (S (S
-      (S (S (S (S (S (S (S (S (S (S (S (S (S (S (S (S (S (S (S (S (S (S (S (S
-      (S (S (S (S (S (S (S (S (S (S (S (S (S (S (S (S (S (S (S (S (S (S (S (S
-      (S (S (S (S (S (S (S (S (S (S (S (S (S (S (S
-      O)))))))))))))))))))))))))))))))))))))))))))))))))))))))))))))))))))))))))))))))))))))))
-      EmptyString []) :: ((mkcut (S (S (S (S (S (S (S (S (S (S (S (S (S (S (S
-                            (S (S (S (S (S (S (S (S (S (S (S (S (S (S (S (S
-                            (S (S (S (S (S (S (S (S (S (S (S (S (S (S (S (S
-                            (S (S (S (S (S (S (S (S (S (S (S (S (S (S (S (S
-                            (S (S (S (S (S (S (S (S (S (S (S (S (S (S (S (S
-                            (S (S (S (S (S (S (S (S
-                            O)))))))))))))))))))))))))))))))))))))))))))))))))))))))))))))))))))))))))))))))))))))))
-                            (S (S (S (S (S (S (S (S (S (S (S (S (S (S (S (S
-                            (S (S (S (S (S (S (S (S (S (S (S (S (S (S (S (S
-                            (S (S (S (S (S (S (S (S (S (S (S (S (S (S (S (S
-                            (S (S (S (S (S (S (S (S (S (S (S (S (S (S (S (S
-                            (S (S (S (S (S (S (S (S (S (S (S (S (S (S (S (S
-                            (S (S (S (S (S (S (S (S (S (S (S (S (S (S
-                            O))))))))))))))))))))))))))))))))))))))))))))))))))))))))))))))))))))))))))))))))))))))))))))))
-                            (String ((Ascii (true, false, true, false, false,
-                            false, true, false)), (String ((Ascii (false,
-                            true, true, true, false, true, true, false)),
-                            (String ((Ascii (false, false, true, false, true,
-                            true, true, false)), (String ((Ascii (false,
-                            true, false, false, true, true, true, false)),
-                            (String ((Ascii (true, false, false, true, true,
-                            true, true, false)), (String ((Ascii (false,
-                            false, true, false, false, false, true, false)),
-                            (String ((Ascii (true, false, true, false, false,
-                            true, true, false)), (String ((Ascii (false,
-                            false, true, false, true, true, true, false)),
-                            (String ((Ascii (true, false, false, false,
-                            false, true, true, false)), (String ((Ascii
-                            (true, false, false, true, false, true, true,
-                            false)), (String ((Ascii (false, false, true,
-                            true, false, true, true, false)), (String ((Ascii
-                            (true, true, false, false, true, false, true,
-                            false)), (String ((Ascii (true, false, true,
-                            false, false, true, true, false)), (String
-                            ((Ascii (true, false, false, false, true, true,
-                            true, false)), (String ((Ascii (true, false,
-                            true, false, true, true, true, false)), (String
-                            ((Ascii (true, false, true, false, false, true,
-                            true, false)), (String ((Ascii (false, true,
-                            true, true, false, true, true, false)), (String
-                            ((Ascii (true, true, false, false, false, true,
-                            true, false)), (String ((Ascii (true, false,
-                            true, false, false, true, true, false)), (String
-                            ((Ascii (false, true, true, true, false, false,
-                            true, false)), (String ((Ascii (true, false,
-                            true, false, true, true, true, false)), (String
-                            ((Ascii (true, false, true, true, false, true,
-                            true, false)), (String ((Ascii (false, true,
-                            false, false, false, true, true, false)), (String
-                            ((Ascii (true, false, true, false, false, true,
-                            true, false)), (String ((Ascii (false, true,
-                            false, false, true, true, true, false)),
-                            EmptyString))))))))))))))))))))))))))))))))))))))))))))))))))
-                            ((String ((Ascii (false, false, false, false,
-                            true, true, true, false)), (String ((Ascii (true,
-                            false, false, false, false, true, true, false)),
-                            (String ((Ascii (false, true, false, false, true,
-                            true, true, false)), (String ((Ascii (true, true,
-                            false, false, true, true, true, false)), (String
-                            ((Ascii (true, false, true, false, false, true,
-                            true, false)), (String ((Ascii (false, true,
-                            true, true, false, false, true, false)), (String
-                            ((Ascii (true, false, true, false, true, true,
-                            true, false)), (String ((Ascii (true, false,
-                            true, true, false, true, true, false)), (String
-                            ((Ascii (false, true, true, false, false, false,
-                            true, false)), (String ((Ascii (true, false,
-                            false, true, false, true, true, false)), (String
-                            ((Ascii (true, false, true, false, false, true,
-                            true, false)), (String ((Ascii (false, false,
-                            true, true, false, true, true, false)), (String
-                            ((Ascii (false, false, true, false, false, true,
-                            true, false)),
-                            EmptyString)))))))))))))))))))))))))) :: [])) :: [])))))) }
+(** val rec_count : (rtag * bytes) list -> n **)
 
-(** val l_Addenda17 : layout **)
+let rec rec_count = function
+| [] -> N0
+| r :: rest ->
+  N.add (if nonempty (snd r) then Npos XH else N0) (rec_count rest)
 
-let l_Addenda17 =
-  { l_name = (String ((Ascii (true, false, false, false, false, false, true,
-    false)), (String ((Ascii (false, false, true, false, false, true, true,
-    false)), (String ((Ascii (false, false, true, false, false, true, true,
-    false)), (String ((Ascii (true, false, true, false, false, true, true,
-    false)), (String ((Ascii (false, true, true, true, false, true, true,
-    false)), (String ((Ascii (false, false, true, false, false, true, true,
-    false)), (String ((Ascii (true, false, false, false, false, true, true,
-    false)), (String ((Ascii (true, false, false, false, true, true, false,
-    false)), (String ((Ascii (true, true, true, false, true, true, false,
-    false)), EmptyString)))))))))))))))))); l_ix = IRune; l_segs = ((SLit
-    ((Npos (XI (XI (XI (XO (XI XH)))))) :: [])) :: ((SRaw (String ((Ascii
-    (false, false, true, false, true, false, true, false)), (String ((Ascii
-    (true, false, false, true, true, true, true, false)), (String ((Ascii
-    (false, false, false, false, true, true, true, false)), (String ((Ascii
-    (true, false, true, false, false, true, true, false)), (String ((Ascii
-    (true, true, false, false, false, false, true, false)), (String ((Ascii
-    (true, true, true, true, false, true, true, false)), (String ((Ascii
-    (false, false, true, false, false, true, true, false)), (String ((Ascii
-    (true, false, true, false, false, true, true, false)),
-    EmptyString))))))))))))))))) :: ((SAlpha ((String ((Ascii (false, false,
-    false, false, true, false, true, false)), (String ((Ascii (true, false,
-    false, false, false, true, true, false)), (String ((Ascii (true, false,
-    false, true, true, true, true, false)), (String ((Ascii (true, false,
-    true, true, false, true, true, false)), (String ((Ascii (true, false,
-    true, false, false, true, true, false)), (String ((Ascii (false, true,
-    true, true, false, true, true, false)), (String ((Ascii (false, false,
-    true, false, true, true, true, false)), (String ((Ascii (false, true,
-    false, false, true, false, true, false)), (String ((Ascii (true, false,
-    true, false, false, true, true, false)), (String ((Ascii (false, false,
-    true, true, false, true, true, false)), (String ((Ascii (true, false,
-    false, false, false, true, true, false)), (String ((Ascii (false, false,
-    true, false, true, true, true, false)), (String ((Ascii (true, false,
-    true, false, false, true, true, false)), (String ((Ascii (false, false,
-    true, false, false, true, true, false)), (String ((Ascii (true, false,
-    false, true, false, false, true, false)), (String ((Ascii (false, true,
-    true, true, false, true, true, false)), (String ((Ascii (false, true,
-    true, false, false, true, true, false)), (String ((Ascii (true, true,
-    true, true, false, true, true, false)), (String ((Ascii (false, true,
-    false, false, true, true, true, false)), (String ((Ascii (true, false,
-    true, true, false, true, true, false)), (String ((Ascii (true, false,
-    false, false, false, true, true, false)), (String ((Ascii (false, false,
-    true, false, true, true, true, false)), (String ((Ascii (true, false,
-    false, true, false, true, true, false)), (String ((Ascii (true, true,
-    true, true, false, true, true, false)), (String ((Ascii (false, true,
-    true, true, false, true, true, false)),
-    EmptyString)))))))))))))))))))))))))))))))))))))))))))))))))), (S (S (S
-    (S (S (S (S (S (S (S (S (S (S (S (S (S (S (S (S (S (S (S (S (S (S (S (S
-    (S (S (S (S (S (S (S (S (S (S (S (S (S (S (S (S (S (S (S (S (S (S (S (S
-    (S (S (S (S (S (S (S (S (S (S (S (S (S (S (S (S (S (S (S (S (S (S (S (S
-    (S (S (S (S (S
-    O)))))))))))))))))))))))))))))))))))))))))))))))))))))))))))))))))))))))))))))))))) :: ((SNum
-    ((String ((Ascii (true, true, false, false, true, false, true, false)),
-    (String ((Ascii (true, false, true, false, false, true, true, false)),
-    (String ((Ascii (true, false, false, false, true, true, true, false)),
-    (String ((Ascii (true, false, true, false, true, true, true, false)),
-    (String ((Ascii (true, false, true, false, false, true, true, false)),
-    (String ((Ascii (false, true, true, true, false, true, true, false)),
-    (String ((Ascii (true, true, false, false, false, true, true, false)),
-    (String ((Ascii (true, false, true, false, false, true, true, false)),
-    (String ((Ascii (false, true, true, true, false, false, true, false)),
-    (String ((Ascii (true, false, true, false, true, true, true, false)),
-    (String ((Ascii (true, false, true, true, false, true, true, false)),
-    (String ((Ascii (false, true, false, false, false, true, true, false)),
-    (String ((Ascii (true, false, true, false, false, true, true, false)),
-    (String ((Ascii (false, true, false, false, true, true, true, false)),
-    EmptyString)))))))))))))))))))))))))))), (S (S (S (S O)))))) :: ((SNum
-    ((String ((Ascii (true, false, true, false, false, false, true, false)),
-    (String ((Ascii (false, true, true, true, false, true, true, false)),
-    (String ((Ascii (false, false, true, false, true, true, true, false)),
-    (String ((Ascii (false, true, false, false, true, true, true, false)),
-    (String ((Ascii (true, false, false, true, true, true, true, false)),
-    (String ((Ascii (false, false, true, false, false, false, true, false)),
-    (String ((Ascii (true, false, true, false, false, true, true, false)),
-    (String ((Ascii (false, false, true, false, true, true, true, false)),
-    (String ((Ascii (true, false, false, false, false, true, true, false)),
-    (String ((Ascii (true, false, false, true, false, true, true, false)),
-    (String ((Ascii (false, false, true, true, false, true, true, false)),
-    (String ((Ascii (true, true, false, false, true, false, true, false)),
-    (String ((Ascii (true, false, true, false, false, true, true, false)),
-    (String ((Ascii (true, false, false, false, true, true, true, false)),
-    (String ((Ascii (true, false, true, false, true, true, true, false)),
-    (String ((Ascii (true, false, true, false, false, true, true, false)),
-    (String ((Ascii (false, true, true, true, false, true, true, false)),
-    (String ((Ascii (true, true, false, false, false, true, true, false)),
-    (String ((Ascii (true, false, true, false, false, true, true, false)),
-    (String ((Ascii (false, true, true, true, false, false, true, false)),
-    (String ((Ascii (true, false, true, false, true, true, true, false)),
-    (String ((Ascii (true, false, true, true, false, true, true, false)),
-    (String ((Ascii (false, true, false, false, false, true, true, false)),
-    (String ((Ascii (true, false, true, false, false, true, true, false)),
-    (String ((Ascii (false, true, false, false, true, true, true, false)),
-    EmptyString)))))))))))))))))))))))))))))))))))))))))))))))))), (S (S (S
-    (S (S (S (S O))))))))) :: []))))); l_cuts =
-    ((mkcut O (S O) EmptyString []) :: ((mkcut (S O) (S (S (S O))) (String
-                                          ((Ascii (false, false, true, false,
-                                          true, false, true, false)), (String
-                                          ((Ascii (true, false, false, true,
-                                          true, true, true, false)), (String
-                                          ((Ascii (false, false, false,
-                                          false, true, true, true, false)),
-                                          (String ((Ascii (true, false, true,
-                                          false, false, true, true, false)),
-                                          (String ((Ascii (true, true, false,
-                                          false, false, false, true, false)),
-                                          (String ((Ascii (true, true, true,
-                                          true, false, true, true, false)),
-                                          (String ((Ascii (false, false,
-                                          true, false, false, true, true,
-                                          false)), (String ((Ascii (true,
-                                          false, true, false, false, true,
-                                          true, false)),
-                                          EmptyString)))))))))))))))) []) :: (
-    (mkcut (S (S (S O))) (S (S (S (S (S (S (S (S (S (S (S (S (S (S (S (S (S
-      (S (S (S (S (S (S (S (S (S (S (S (S (S (S (S (S (S (S (S (S (S (S (S (S
-      (S (S (S (S (S (S (S (S (S (S (S (S (S (S (S (S (S (S (S (S (S (S (S (S
-      (S (S (S (S (S (S (S (S (S (S (S (S (S (S (S (S (S (S
-      O)))))))))))))))))))))))))))))))))))))))))))))))))))))))))))))))))))))))))))))))))))
-      (String ((Ascii (false, false, false, false, true, false, true,
-      false)), (String ((Ascii (true, false, false, false, false, true, true,
-      false)), (String ((Ascii (true, false, false, true, true, true, true,
-      false)), (String ((Ascii (true, false, true, true, false, true, true,
-      false)), (String ((Ascii (true, false, true, false, false, true, true,
-      false)), (String ((Ascii (false, true, true, true, false, true, true,
-      false)), (String ((Ascii (false, false, true, false, true, true, true,
-      false)), (String ((Ascii (false, true, false, false, true, false, true,
-      false)), (String ((Ascii (true, false, true, false, false, true, true,
-      false)), (String ((Ascii (false, false, true, true, false, true, true,
-      false)), (String ((Ascii (true, false, false, false, false, true, true,
-      false)), (String ((Ascii (false, false, true, false, true, true, true,
-      false)), (String ((Ascii (true, false, true, false, false, true, true,
-      false)), (String ((Ascii (false, false, true, false, false, true, true,
-      false)), (String ((Ascii (true, false, false, true, false, false, true,
-      false)), (String ((Ascii (false, true, true, true, false, true, true,
-      false)), (String ((Ascii (false, true, true, false, false, true, true,
-      false)), (String ((Ascii (true, true, true, true, false, true, true,
-      false)), (String ((Ascii (false, true, false, false, true, true, true,
-      false)), (String ((Ascii (true, false, true, true, false, true, true,
-      false)), (String ((Ascii (true, false, false, false, false, true, true,
-      false)), (String ((Ascii (false, false, true, false, true, true, true,
-      false)), (String ((Ascii (true, false, false, true, false, true, true,
-      false)), (String ((Ascii (true, true, true, true, false, true, true,
-      false)), (String ((Ascii (false, true, true, true, false, true, true,
-      false)), EmptyString))))))))))))))))))))))))))))))))))))))))))))))))))
-      ((String ((Ascii (true, true, false, false, true, true, true, false)),
-      (String ((Ascii (false, false, true, false, true, true, true, false)),
-      (String ((Ascii (false, true, false, false, true, true, true, false)),
-      (String ((Ascii (true, false, false, true, false, true, true, false)),
-      (String ((Ascii (false, true, true, true, false, true, true, false)),
-      (String ((Ascii (true, true, true, false, false, true, true, false)),
-      (String ((Ascii (true, true, false, false, true, true, true, false)),
-      (String ((Ascii (false, true, true, true, false, true, false, false)),
-      (String ((Ascii (false, false, true, false, true, false, true, false)),
-      (String ((Ascii (false, true, false, false, true, true, true, false)),
-      (String ((Ascii (true, false, false, true, false, true, true, false)),
-      (String ((Ascii (true, false, true, true, false, true, true, false)),
-      (String ((Ascii (true, true, false, false, true, false, true, false)),
-      (String ((Ascii (false, false, false, false, true, true, true, false)),
-      (String ((Ascii (true, false, false, false, false, true, true, false)),
-      (String ((Ascii (true, true, false, false, false, true, true, false)),
-      (String ((Ascii (true, false, true, false, false, true, true, false)),
-      EmptyString)))))))))))))))))))))))))))))))))) :: [])) :: ((mkcut (S (S
-                                                                  (S (S (S (S
-                                                                  (S (S (S (S
-                                                                  (S (S (S (S
-                                                                  (S (S (S (S
-                                                                  (S (S (S (S
-                                                                  (S (S (S (S
-                                                                  (S (S (S (S
-                                                                  (S (S (S (S
-                                                                  (S (S (S (S
-                                                                  (S (S (S (S
-                                                                  (S (S (S (S
-                                                                  (S (S (S (S
-                                                                  (S (S (S (S
-                                                                  (S (S (S (S
-                                                                  (S (S (S (S
-                                                                  (S (S (S (S
-                                                                  (S (S (S (S
-                                                                  (S (S (S (S
-                                                                  (S (S (S (S
-                                                                  (S (S (S (S
-                                                                  (S
-                                                                  O)))))))))))))))))))))))))))))))))))))))))))))))))))))))))))))))))))))))))))))))))))
-                                                                  (S (S (S (S
-                                                                  (S (S (S (S
-                                                                  (S (S (S (S
-                                                                  (S (S (S (S
-                                                                  (S (S (S (S
-                                                                  (S (S (S (S
-                                                                  (S (S (S (S
-                                                                  (S (S (S (S
-                                                                  (S (S (S (S
-                                                                  (S (S (S (S
-                                                                  (S (S (S (S
-                                                                  (S (S (S (S
-                                                                  (S (S (S (S
-                                                                  (S (S (S (S
-                                                                  (S (S (S (S
-                                                                  (S (S (S (S
-                                                                  (S (S (S (S
-                                                                  (S (S (S (S
-                                                                  (S (S (S (S
-                                                                  (S (S (S (S
-                                                                  (S (S (S (S
-                                                                  (S (S (S
-                                                                  O)))))))))))))))))))))))))))))))))))))))))))))))))))))))))))))))))))))))))))))))))))))))
-                                                                  (String
-                                                                  ((Ascii
-                                                                  (true,
-                                                                  true,
-                                                                  false,
-                                                                  false,
-                                                                  true,
-                                                                  false,
-                                                                  true,
-                                                                  false)),
-                                                                  (String
-                                                                  ((Ascii
-                                                                  (true,
-                                                                  false,
-                                                                  true,
-                                                                  false,
-                                                                  false,
-                                                                  true, true,
-                                                                  false)),
-                                                                  (String
-                                                                  ((Ascii
-                                                                  (true,
-                                                                  false,
-                                                                  false,
-                                                                  false,
-                                                                  true, true,
-                                                                  true,
-                                                                  false)),
-                                                                  (String
-                                                                  ((Ascii
-                                                                  (true,
-                                                                  false,
-                                                                  true,
-                                                                  false,
-                                                                  true, true,
-                                                                  true,
-                                                                  false)),
-                                                                  (String
-                                                                  ((Ascii
-                                                                  (true,
-                                                                  false,
-                                                                  true,
-                                                                  false,
-                                                                  false,
-                                                                  true, true,
-                                                                  false)),
-                                                                  (String
-                                                                  ((Ascii
-                                                                  (false,
-                                                                  true, true,
-                                                                  true,
-                                                                  false,
-                                                                  true, true,
-                                                                  false)),
-                                                                  (String
-                                                                  ((Ascii
-                                                                  (true,
-                                                                  true,
-                                                                  false,
-                                                                  false,
-                                                                  false,
-                                                                  true, true,
-                                                                  false)),
-                                                                  (String
-                                                                  ((Ascii
-                                                                  (true,
-                                                                  false,
-                                                                  true,
-                                                                  false,
-                                                                  false,
-                                                                  true, true,
-                                                                  false)),
-                                                                  (String
-                                                                  ((Ascii
-                                                                  (false,
-                                                                  true, true,
-                                                                  true,
-                                                                  false,
-                                                                  false,
-                                                                  true,
-                                                                  false)),
-                                                                  (String
-                                                                  ((Ascii
-                                                                  (true,
-                                                                  false,
-                                                                  true,
-                                                                  false,
-                                                                  true, true,
-                                                                  true,
-                                                                  false)),
-                                                                  (String
-                                                                  ((Ascii
-                                                                  (true,
-                                                                  false,
-                                                                  true, true,
-                                                                  false,
-                                                                  true, true,
-                                                                  false)),
-                                                                  (String
-                                                                  ((Ascii
-                                                                  (false,
-                                                                  true,
-                                                                  false,
-                                                                  false,
-                                                                  false,
-                                                                  true, true,
-                                                                  false)),
-                                                                  (String
-                                                                  ((Ascii
-                                                                  (true,
-                                                                  false,
-                                                                  true,
-                                                                  false,
-                                                                  false,
-                                                                  true, true,
-                                                                  false)),
-                                                                  (String
-                                                                  ((Ascii
-                                                                  (false,
-                                                                  true,
-                                                                  false,
-                                                                  false,
-                                                                  true, true,
-                                                                  true,
-                                                                  false)),
-                                                                  EmptyString))))))))))))))))))))))))))))
-                                                                  ((String
-                                                                  ((Ascii
-                                                                  (false,
-                                                                  false,
-                                                                  false,
-                                                                  false,
-                                                                  true, true,
-                                                                  true,
-                                                                  false)),
-                                                                  (String
-                                                                  ((Ascii
-                                                                  (true,
-                                                                  false,
-                                                                  false,
-                                                                  false,
-                                                                  false,
-                                                                  true, true,
-                                                                  false)),
-                                                                  (String
-                                                                  ((Ascii
-                                                                  (false,
-                                                                  true,
-                                                                  false,
-                                                                  false,
-                                                                  true, true,
-                                                                  true,
-                                                                  false)),
-                                                                  (String
-                                                                  ((Ascii
-                                                                  (true,
-                                                                  true,
-                                                                  false,
-                                                                  false,
-                                                                  true, true,
-                                                                  true,
-                                                                  false)),
-                                                                  (String
-                                                                  ((Ascii
-                                                                  (true,
-                                                                  false,
-                                                                  true,
-                                                                  false,
-                                                                  false,
-                                                                  true, true,
-                                                                  false)),
-                                                                  (String
-                                                                  ((Ascii
-                                                                  (false,
-                                                                  true, true,
-                                                                  true,
-                                                                  false,
-                                                                  false,
-                                                                  true,
-                                                                  false)),
-                                                                  (String
-                                                                  ((Ascii
-                                                                  (true,
-                                                                  false,
-                                                                  true,
-                                                                  false,
-                                                                  true, true,
-                                                                  true,
-                                                                  false)),
-                                                                  (String
-                                                                  ((Ascii
-                                                                  (true,
-                                                                  false,
-                                                                  true, true,
-                                                                  false,
-                                                                  true, true,
-                                                                  false)),
-                                                                  (String
-                                                                  ((Ascii
-                                                                  (false,
-                                                                  true, true,
-                                                                  false,
-                                                                  false,
-                                                                  false,
-                                                                  true,
-                                                                  false)),
-                                                                  (String
-                                                                  ((Ascii
-                                                                  (true,
-                                                                  false,
-                                                                  false,
-                                                                  true,
-                                                                  false,
-                                                                  true, true,
-                                                                  false)),
-                                                                  (String
-                                                                  ((Ascii
-                                                                  (true,
-                                                                  false,
-                                                                  true,
-                                                                  false,
-                                                                  false,
-                                                                  true, true,
-                                                                  false)),
-                                                                  (String
-                                                                  ((Ascii
-                                                                  (false,
-                                                                  false,
-                                                                  true, true,
-                                                                  false,
-                                                                  true, true,
-                                                                  false)),
-                                                                  (String
-                                                                  ((Ascii
-                                                                  (false,
-                                                                  false,
-                                                                  true,
-                                                                  false,
-                                                                  false,
-                                                                  true, true,
-                                                                  false)),
-                                                                  EmptyString)))))))))))))))))))))))))) :: [])) :: (
-    (mkcut (S (S (S (S (S (S (S (S (S (S (S (S (S (S (S (S (S (S (S (S (S (S
-      (S (S (S (S (S (S (S (S (S (S (S (S (S (S (S (S (S (S (S (S (S (S (S (S
-      (S (S (S (S (S (S (S (S (S (S (S (S (S (S (S (S (S (S (S (S (S (S (S (S
-      (S (S (S (S (S (S (S (S (S (S (S (S (S (S (S (S (S
-      O)))))))))))))))))))))))))))))))))))))))))))))))))))))))))))))))))))))))))))))))))))))))
-      (S (S (S (S (S (S (S (S (S (S (S (S (S (S (S (S (S (S (S (S (S (S (S (S
-      (S (S (S (S (S (S (S (S (S (S (S (S (S (S (S (S (S (S (S (S (S (S (S (S
-      (S (S (S (S (S (S (S (S (S (S (S (S (S (S (S (S (S (S (S (S (S (S (S (S
-      (S (S (S (S (S (S (S (S (S (S (S (S (S (S (S (S (S (S (S (S (S (S
-      O))))))))))))))))))))))))))))))))))))))))))))))))))))))))))))))))))))))))))))))))))))))))))))))
-      (String ((Ascii (true, false, true, false, false, false, true, false)),
-      (String ((Ascii (false, true, true, true, false, true, true, false)),
-      (String ((Ascii (false, false, true, false, true, true, true, false)),
-      (String ((Ascii (false, true, false, false, true, true, true, false)),
-      (String ((Ascii (true, false, false, true, true, true, true, false)),
-      (String ((Ascii (false, false, true, false, false, false, true,
-      false)), (String ((Ascii (true, false, true, false, false, true, true,
-      false)), (String ((Ascii (false, false, true, false, true, true, true,
-      false)), (String ((Ascii (true, false, false, false, false, true, true,
-      false)), (String ((Ascii (true, false, false, true, false, true, true,
-      false)), (String ((Ascii (false, false, true, true, false, true, true,
-      false)), (String ((Ascii (true, true, false, false, true, false, true,
-      false)), (String ((Ascii (true, false, true, false, false, true, true,
-      false)), (String ((Ascii (true, false, false, false, true, true, true,
-      false)), (String ((Ascii (true, false, true, false, true, true, true,
-      false)), (String ((Ascii (true, false, true, false, false, true, true,
-      false)), (String ((Ascii (false, true, true, true, false, true, true,
-      false)), (String ((Ascii (true, true, false, false, false, true, true,
-      false)), (String ((Ascii (true, false, true, false, false, true, true,
-      false)), (String ((Ascii (false, true, true, true, false, false, true,
-      false)), (String ((Ascii (true, false, true, false, true, true, true,
-      false)), (String ((Ascii (true, false, true, true, false, true, true,
-      false)), (String ((Ascii (false, true, false, false, false, true, true,
-      false)), (String ((Ascii (true, false, true, false, false, true, true,
-      false)), (String ((Ascii (false, true, false, false, true, true, true,
-      false)), EmptyString))))))))))))))))))))))))))))))))))))))))))))))))))
-      ((String ((Ascii (false, false, false, false, true, true, true,
-      false)), (String ((Ascii (true, false, false, false, false, true, true,
-      false)), (String ((Ascii (false, true, false, false, true, true, true,
-      false)), (String ((Ascii (true, true, false, false, true, true, true,
-      false)), (String ((Ascii (true, false, true, false, false, true, true,
-      false)), (String ((Ascii (false, true, true, true, false, false, true,
-      false)), (String ((Ascii (true, false, true, false, true, true, true,
-      false)), (String ((Ascii (true, false, true, true, false, true, true,
-      false)), (String ((Ascii (false, true, true, false, false, false, true,
-      false)), (String ((Ascii (true, false, false, true, false, true, true,
-      false)), (String ((Ascii (true, false, true, false, false, true, true,
-      false)), (String ((Ascii (false, false, true, true, false, true, true,
-      false)), (String ((Ascii (false, false, true, false, false, true, true,
-      false)), EmptyString)))))))))))))))))))))))))) :: [])) :: []))))) }
+(** val full_output : bytes -> (rtag * bytes) list -> bytes **)
 
-(** val l_Addenda18 : layout **)
+let full_output le recs =
+  app (rec_bytes le recs)
+    (concat (repeat (app nines le) (pad_count (rec_count recs))))
 
-let l_Addenda18 =
-  { l_name = (String ((Ascii (true, false, false, false, false, false, true,
-    false)), (String ((Ascii (false, false, true, false, false, true, true,
-    false)), (String ((Ascii (false, false, true, false, false, true, true,
-    false)), (String ((Ascii (true, false, true, false, false, true, true,
-    false)), (String ((Ascii (false, true, true, true, false, true, true,
-    false)), (String ((Ascii (false, false, true, false, false, true, true,
-    false)), (String ((Ascii (true, false, false, false, false, true, true,
-    false)), (String ((Ascii (true, false, false, false, true, true, false,
-    false)), (String ((Ascii (false, false, false, true, true, true, false,
-    false)), EmptyString)))))))))))))))))); l_ix = IRune; l_segs = ((SLit
-    ((Npos (XI (XI (XI (XO (XI XH)))))) :: [])) :: ((SRaw (String ((Ascii
-    (false, false, true, false, true, false, true, false)), (String ((Ascii
-    (true, false, false, true, true, true, true, false)), (String ((Ascii
-    (false, false, false, false, true, true, true, false)), (String ((Ascii
-    (true, false, true, false, false, true, true, false)), (String ((Ascii
-    (true, true, false, false, false, false, true, false)), (String ((Ascii
-    (true, true, true, true, false, true, true, false)), (String ((Ascii
-    (false, false, true, false, false, true, true, false)), (String ((Ascii
-    (true, false, true, false, false, true, true, false)),
-    EmptyString))))))))))))))))) :: ((SAlpha ((String ((Ascii (false, true,
-    true, false, false, false, true, false)), (String ((Ascii (true, true,
-    true, true, false, true, true, false)), (String ((Ascii (false, true,
-    false, false, true, true, true, false)), (String ((Ascii (true, false,
-    true, false, false, true, true, false)), (String ((Ascii (true, false,
-    false, true, false, true, true, false)), (String ((Ascii (true, true,
-    true, false, false, true, true, false)), (String ((Ascii (false, true,
-    true, true, false, true, true, false)), (String ((Ascii (true, true,
-    false, false, false, false, true, false)), (String ((Ascii (true, true,
-    true, true, false, true, true, false)), (String ((Ascii (false, true,
-    false, false, true, true, true, false)), (String ((Ascii (false, true,
-    false, false, true, true, true, false)), (String ((Ascii (true, false,
-    true, false, false, true, true, false)), (String ((Ascii (true, true,
-    false, false, true, true, true, false)), (String ((Ascii (false, false,
-    false, false, true, true, true, false)), (String ((Ascii (true, true,
-    true, true, false, true, true, false)), (String ((Ascii (false, true,
-    true, true, false, true, true, false)), (String ((Ascii (false, false,
-    true, false, false, true, true, false)), (String ((Ascii (true, false,
-    true, false, false, true, true, false)), (String ((Ascii (false, true,
-    true, true, false, true, true, false)), (String ((Ascii (false, false,
-    true, false, true, true, true, false)), (String ((Ascii (false, true,
-    false, false, false, false, true, false)), (String ((Ascii (true, false,
-    false, false, false, true, true, false)), (String ((Ascii (false, true,
-    true, true, false, true, true, false)), (String ((Ascii (true, true,
-    false, true, false, true, true, false)), (String ((Ascii (false, true,
-    true, true, false, false, true, false)), (String ((Ascii (true, false,
-    false, false, false, true, true, false)), (String ((Ascii (true, false,
-    true, true, false, true, true, false)), (String ((Ascii (true, false,
-    true, false, false, true, true, false)),
-    EmptyString)))))))))))))))))))))))))))))))))))))))))))))))))))))))), (S
-    (S (S (S (S (S (S (S (S (S (S (S (S (S (S (S (S (S (S (S (S (S (S (S (S
-    (S (S (S (S (S (S (S (S (S (S
-    O))))))))))))))))))))))))))))))))))))) :: ((SAlpha ((String ((Ascii
-    (false, true, true, false, false, false, true, false)), (String ((Ascii
-    (true, true, true, true, false, true, true, false)), (String ((Ascii
-    (false, true, false, false, true, true, true, false)), (String ((Ascii
-    (true, false, true, false, false, true, true, false)), (String ((Ascii
-    (true, false, false, true, false, true, true, false)), (String ((Ascii
-    (true, true, true, false, false, true, true, false)), (String ((Ascii
-    (false, true, true, true, false, true, true, false)), (String ((Ascii
-    (true, true, false, false, false, false, true, false)), (String ((Ascii
-    (true, true, true, true, false, true, true, false)), (String ((Ascii
-    (false, true, false, false, true, true, true, false)), (String ((Ascii
-    (false, true, false, false, true, true, true, false)), (String ((Ascii
-    (true, false, true, false, false, true, true, false)), (String ((Ascii
-    (true, true, false, false, true, true, true, false)), (String ((Ascii
-    (false, false, false, false, true, true, true, false)), (String ((Ascii
-    (true, true, true, true, false, true, true, false)), (String ((Ascii
-    (false, true, true, true, false, true, true, false)), (String ((Ascii
-    (false, false, true, false, false, true, true, false)), (String ((Ascii
-    (true, false, true, false, false, true, true, false)), (String ((Ascii
-    (false, true, true, true, false, true, true, false)), (String ((Ascii
-    (false, false, true, false, true, true, true, false)), (String ((Ascii
-    (false, true, false, false, false, false, true, false)), (String ((Ascii
-    (true, false, false, false, false, true, true, false)), (String ((Ascii
-    (false, true, true, true, false, true, true, false)), (String ((Ascii
-    (true, true, false, true, false, true, true, false)), (String ((Ascii
-    (true, false, false, true, false, false, true, false)), (String ((Ascii
-    (false, false, true, false, false, false, true, false)), (String ((Ascii
-    (false, true, true, true, false, false, true, false)), (String ((Ascii
-    (true, false, true, false, true, true, true, false)), (String ((Ascii
-    (true, false, true, true, false, true, true, false)), (String ((Ascii
-    (false, true, false, false, false, true, true, false)), (String ((Ascii
-    (true, false, true, false, false, true, true, false)), (String ((Ascii
-    (false, true, false, false, true, true, true, false)), (String ((Ascii
-    (true, false, false, false, true, false, true, false)), (String ((Ascii
-    (true, false, true, false, true, true, true, false)), (String ((Ascii
-    (true, false, false, false, false, true, true, false)), (String ((Ascii
-    (false, false, true, true, false, true, true, false)), (String ((Ascii
-    (true, false, false, true, false, true, true, false)), (String ((Ascii
-    (false, true, true, false, false, true, true, false)), (String ((Ascii
-    (true, false, false, true, false, true, true, false)), (String ((Ascii
-    (true, false, true, false, false, true, true, false)), (String ((Ascii
-    (false, true, false, false, true, true, true, false)),
-    EmptyString)))))))))))))))))))))))))))))))))))))))))))))))))))))))))))))))))))))))))))))))))),
-    (S (S O)))) :: ((SAlpha ((String ((Ascii (false, true, true, false,
-    false, false, true, false)), (String ((Ascii (true, true, true, true,
-    false, true, true, false)), (String ((Ascii (false, true, false, false,
-    true, true, true, false)), (String ((Ascii (true, false, true, false,
-    false, true, true, false)), (String ((Ascii (true, false, false, true,
-    false, true, true, false)), (String ((Ascii (true, true, true, false,
-    false, true, true, false)), (String ((Ascii (false, true, true, true,
-    false, true, true, false)), (String ((Ascii (true, true, false, false,
-    false, false, true, false)), (String ((Ascii (true, true, true, true,
-    false, true, true, false)), (String ((Ascii (false, true, false, false,
-    true, true, true, false)), (String ((Ascii (false, true, false, false,
-    true, true, true, false)), (String ((Ascii (true, false, true, false,
-    false, true, true, false)), (String ((Ascii (true, true, false, false,
-    true, true, true, false)), (String ((Ascii (false, false, false, false,
-    true, true, true, false)), (String ((Ascii (true, true, true, true,
-    false, true, true, false)), (String ((Ascii (false, true, true, true,
-    false, true, true, false)), (String ((Ascii (false, false, true, false,
-    false, true, true, false)), (String ((Ascii (true, false, true, false,
-    false, true, true, false)), (String ((Ascii (false, true, true, true,
-    false, true, true, false)), (String ((Ascii (false, false, true, false,
-    true, true, true, false)), (String ((Ascii (false, true, false, false,
-    false, false, true, false)), (String ((Ascii (true, false, false, false,
-    false, true, true, false)), (String ((Ascii (false, true, true, true,
-    false, true, true, false)), (String ((Ascii (true, true, false, true,
-    false, true, true, false)), (String ((Ascii (true, false, false, true,
-    false, false, true, false)), (String ((Ascii (false, false, true, false,
-    false, false, true, false)), (String ((Ascii (false, true, true, true,
-    false, false, true, false)), (String ((Ascii (true, false, true, false,
-    true, true, true, false)), (String ((Ascii (true, false, true, true,
-    false, true, true, false)), (String ((Ascii (false, true, false, false,
-    false, true, true, false)), (String ((Ascii (true, false, true, false,
-    false, true, true, false)), (String ((Ascii (false, true, false, false,
-    true, true, true, false)),
-    EmptyString)))))))))))))))))))))))))))))))))))))))))))))))))))))))))))))))),
-    (S (S (S (S (S (S (S (S (S (S (S (S (S (S (S (S (S (S (S (S (S (S (S (S
-    (S (S (S (S (S (S (S (S (S (S
-    O)))))))))))))))))))))))))))))))))))) :: ((SAlpha ((String ((Ascii
-    (false, true, true, false, false, false, true, false)), (String ((Ascii
-    (true, true, true, true, false, true, true, false)), (String ((Ascii
-    (false, true, false, false, true, true, true, false)), (String ((Ascii
-    (true, false, true, false, false, true, true, false)), (String ((Ascii
-    (true, false, false, true, false, true, true, false)), (String ((Ascii
-    (true, true, true, false, false, true, true, false)), (String ((Ascii
-    (false, true, true, true, false, true, true, false)), (String ((Ascii
-    (true, true, false, false, false, false, true, false)), (String ((Ascii
-    (true, true, true, true, false, true, true, false)), (String ((Ascii
-    (false, true, false, false, true, true, true, false)), (String ((Ascii
-    (false, true, false, false, true, true, true, false)), (String ((Ascii
-    (true, false, true, false, false, true, true, false)), (String ((Ascii
-    (true, true, false, false, true, true, true, false)), (String ((Ascii
-    (false, false, false, false, true, true, true, false)), (String ((Ascii
-    (true, true, true, true, false, true, true, false)), (String ((Ascii
-    (false, true, true, true, false, true, true, false)), (String ((Ascii
-    (false, false, true, false, false, true, true, false)), (String ((Ascii
-    (true, false, true, false, false, true, true, false)), (String ((Ascii
-    (false, true, true, true, false, true, true, false)), (String ((Ascii
-    (false, false, true, false, true, true, true, false)), (String ((Ascii
-    (false, true, false, false, false, false, true, false)), (String ((Ascii
-    (true, false, false, false, false, true, true, false)), (String ((Ascii
-    (false, true, true, true, false, true, true, false)), (String ((Ascii
-    (true, true, false, true, false, true, true, false)), (String ((Ascii
-    (false, true, false, false, false, false, true, false)), (String ((Ascii
-    (false, true, false, false, true, true, true, false)), (String ((Ascii
-    (true, false, false, false, false, true, true, false)), (String ((Ascii
-    (false, true, true, true, false, true, true, false)), (String ((Ascii
-    (true, true, false, false, false, true, true, false)), (String ((Ascii
-    (false, false, false, true, false, true, true, false)), (String ((Ascii
-    (true, true, false, false, false, false, true, false)), (String ((Ascii
-    (true, true, true, true, false, true, true, false)), (String ((Ascii
-    (true, false, true, false, true, true, true, false)), (String ((Ascii
-    (false, true, true, true, false, true, true, false)), (String ((Ascii
-    (false, false, true, false, true, true, true, false)), (String ((Ascii
-    (false, true, false, false, true, true, true, false)), (String ((Ascii
-    (true, false, false, true, true, true, true, false)), (String ((Ascii
-    (true, true, false, false, false, false, true, false)), (String ((Ascii
-    (true, true, true, true, false, true, true, false)), (String ((Ascii
-    (false, false, true, false, false, true, true, false)), (String ((Ascii
-    (true, false, true, false, false, true, true, false)),
-    EmptyString)))))))))))))))))))))))))))))))))))))))))))))))))))))))))))))))))))))))))))))))))),
-    (S (S (S O))))) :: ((SLit ((Npos (XO (XO (XO (XO (XO XH)))))) :: ((Npos
-    (XO (XO (XO (XO (XO XH)))))) :: ((Npos (XO (XO (XO (XO (XO
-    XH)))))) :: ((Npos (XO (XO (XO (XO (XO XH)))))) :: ((Npos (XO (XO (XO (XO
-    (XO XH)))))) :: ((Npos (XO (XO (XO (XO (XO
-    XH)))))) :: []))))))) :: ((SNum ((String ((Ascii (true, true, false,
-    false, true, false, true, false)), (String ((Ascii (true, false, true,
-    false, false, true, true, false)), (String ((Ascii (true, false, false,
-    false, true, true, true, false)), (String ((Ascii (true, false, true,
-    false, true, true, true, false)), (String ((Ascii (true, false, true,
-    false, false, true, true, false)), (String ((Ascii (false, true, true,
-    true, false, true, true, false)), (String ((Ascii (true, true, false,
-    false, false, true, true, false)), (String ((Ascii (true, false, true,
-    false, false, true, true, false)), (String ((Ascii (false, true, true,
-    true, false, false, true, false)), (String ((Ascii (true, false, true,
-    false, true, true, true, false)), (String ((Ascii (true, false, true,
-    true, false, true, true, false)), (String ((Ascii (false, true, false,
-    false, false, true, true, false)), (String ((Ascii (true, false, true,
-    false, false, true, true, false)), (String ((Ascii (false, true, false,
-    false, true, true, true, false)),
-    EmptyString)))))))))))))))))))))))))))), (S (S (S (S O)))))) :: ((SNum
-    ((String ((Ascii (true, false, true, false, false, false, true, false)),
-    (String ((Ascii (false, true, true, true, false, true, true, false)),
-    (String ((Ascii (false, false, true, false, true, true, true, false)),
-    (String ((Ascii (false, true, false, false, true, true, true, false)),
-    (String ((Ascii (true, false, false, true, true, true, true, false)),
-    (String ((Ascii (false, false, true, false, false, false, true, false)),
-    (String ((Ascii (true, false, true, false, false, true, true, false)),
-    (String ((Ascii (false, false, true, false, true, true, true, false)),
-    (String ((Ascii (true, false, false, false, false, true, true, false)),
-    (String ((Ascii (true, false, false, true, false, true, true, false)),
-    (String ((Ascii (false, false, true, true, false, true, true, false)),
-    (String ((Ascii (true, true, false, false, true, false, true, false)),
-    (String ((Ascii (true, false, true, false, false, true, true, false)),
-    (String ((Ascii (true, false, false, false, true, true, true, false)),
-    (String ((Ascii (true, false, true, false, true, true, true, false)),
-    (String ((Ascii (true, false, true, false, false, true, true, false)),
-    (String ((Ascii (false, true, true, true, false, true, true, false)),
-    (String ((Ascii (true, true, false, false, false, true, true, false)),
-    (String ((Ascii (true, false, true, false, false, true, true, false)),
-    (String ((Ascii (false, true, true, true, false, false, true, false)),
-    (String ((Ascii (true, false, true, false, true, true, true, false)),
-    (String ((Ascii (true, false, true, true, false, true, true, false)),
-    (String ((Ascii (false, true, false, false, false, true, true, false)),
-    (String ((Ascii (true, false, true, false, false, true, true, false)),
-    (String ((Ascii (false, true, false, false, true, true, true, false)),
-    EmptyString)))))))))))))))))))))))))))))))))))))))))))))))))), (S (S (S
-    (S (S (S (S O))))))))) :: []))))))))); l_cuts =
-    ((mkcut O (S O) EmptyString []) :: ((mkcut (S O) (S (S (S O))) (String
-                                          ((Ascii (false, false, true, false,
-                                          true, false, true, false)), (String
-                                          ((Ascii (true, false, false, true,
-                                          true, true, true, false)), (String
-                                          ((Ascii (false, false, false,
-                                          false, true, true, true, false)),
-                                          (String ((Ascii (true, false, true,
-                                          false, false, true, true, false)),
-                                          (String ((Ascii (true, true, false,
-                                          false, false, false, true, false)),
-                                          (String ((Ascii (true, true, true,
-                                          true, false, true, true, false)),
-                                          (String ((Ascii (false, false,
-                                          true, false, false, true, true,
-                                          false)), (String ((Ascii (true,
-                                          false, true, false, false, true,
-                                          true, false)),
-                                          EmptyString)))))))))))))))) []) :: (
-    (mkcut (S (S (S O))) (S (S (S (S (S (S (S (S (S (S (S (S (S (S (S (S (S
-      (S (S (S (S (S (S (S (S (S (S (S (S (S (S (S (S (S (S (S (S (S
-      O)))))))))))))))))))))))))))))))))))))) (String ((Ascii (false, true,
-      true, false, false, false, true, false)), (String ((Ascii (true, true,
-      true, true, false, true, true, false)), (String ((Ascii (false, true,
-      false, false, true, true, true, false)), (String ((Ascii (true, false,
-      true, false, false, true, true, false)), (String ((Ascii (true, false,
-      false, true, false, true, true, false)), (String ((Ascii (true, true,
-      true, false, false, true, true, false)), (String ((Ascii (false, true,
-      true, true, false, true, true, false)), (String ((Ascii (true, true,
-      false, false, false, false, true, false)), (String ((Ascii (true, true,
-      true, true, false, true, true, false)), (String ((Ascii (false, true,
-      false, false, true, true, true, false)), (String ((Ascii (false, true,
-      false, false, true, true, true, false)), (String ((Ascii (true, false,
-      true, false, false, true, true, false)), (String ((Ascii (true, true,
-      false, false, true, true, true, false)), (String ((Ascii (false, false,
-      false, false, true, true, true, false)), (String ((Ascii (true, true,
-      true, true, false, true, true, false)), (String ((Ascii (false, true,
-      true, true, false, true, true, false)), (String ((Ascii (false, false,
-      true, false, false, true, true, false)), (String ((Ascii (true, false,
-      true, false, false, true, true, false)), (String ((Ascii (false, true,
-      true, true, false, true, true, false)), (String ((Ascii (false, false,
-      true, false, true, true, true, false)), (String ((Ascii (false, true,
-      false, false, false, false, true, false)), (String ((Ascii (true,
-      false, false, false, false, true, true, false)), (String ((Ascii
-      (false, true, true, true, false, true, true, false)), (String ((Ascii
-      (true, true, false, true, false, true, true, false)), (String ((Ascii
-      (false, true, true, true, false, false, true, false)), (String ((Ascii
-      (true, false, false, false, false, true, true, false)), (String ((Ascii
-      (true, false, true, true, false, true, true, false)), (String ((Ascii
-      (true, false, true, false, false, true, true, false)),
-      EmptyString))))))))))))))))))))))))))))))))))))))))))))))))))))))))
-      ((String ((Ascii (true, true, false, false, true, true, true, false)),
-      (String ((Ascii (false, false, true, false, true, true, true, false)),
-      (String ((Ascii (false, true, false, false, true, true, true, false)),
-      (String ((Ascii (true, false, false, true, false, true, true, false)),
-      (String ((Ascii (false, true, true, true, false, true, true, false)),
-      (String ((Ascii (true, true, true, false, false, true, true, false)),
-      (String ((Ascii (true, true, false, false, true, true, true, false)),
-      (String ((Ascii (false, true, true, true, false, true, false, false)),
-      (String ((Ascii (false, false, true, false, true, false, true, false)),
-      (String ((Ascii (false, true, false, false, true, true, true, false)),
-      (String ((Ascii (true, false, false, true, false, true, true, false)),
-      (String ((Ascii (true, false, true, true, false, true, true, false)),
-      (String ((Ascii (true, true, false, false, true, false, true, false)),
-      (String ((Ascii (false, false, false, false, true, true, true, false)),
-      (String ((Ascii (true, false, false, false, false, true, true, false)),
-      (String ((Ascii (true, true, false, false, false, true, true, false)),
-      (String ((Ascii (true, false, true, false, false, true, true, false)),
-      EmptyString)))))))))))))))))))))))))))))))))) :: [])) :: ((mkcut (S (S
-                                                                  (S (S (S (S
-                                                                  (S (S (S (S
-                                                                  (S (S (S (S
-                                                                  (S (S (S (S
-                                                                  (S (S (S (S
-                                                                  (S (S (S (S
-                                                                  (S (S (S (S
-                                                                  (S (S (S (S
-                                                                  (S (S (S (S
-                                                                  O))))))))))))))))))))))))))))))))))))))
-                                                                  (S (S (S (S
-                                                                  (S (S (S (S
-                                                                  (S (S (S (S
-                                                                  (S (S (S (S
-                                                                  (S (S (S (S
-                                                                  (S (S (S (S
-                                                                  (S (S (S (S
-                                                                  (S (S (S (S
-                                                                  (S (S (S (S
-                                                                  (S (S (S (S
-                                                                  O))))))))))))))))))))))))))))))))))))))))
-                                                                  (String
-                                                                  ((Ascii
-                                                                  (false,
-                                                                  true, true,
-                                                                  false,
-                                                                  false,
-                                                                  false,
-                                                                  true,
-                                                                  false)),
-                                                                  (String
-                                                                  ((Ascii
-                                                                  (true,
-                                                                  true, true,
-                                                                  true,
-                                                                  false,
-                                                                  true, true,
-                                                                  false)),
-                                                                  (String
-                                                                  ((Ascii
-                                                                  (false,
-                                                                  true,
-                                                                  false,
-                                                                  false,
-                                                                  true, true,
-                                                                  true,
-                                                                  false)),
-                                                                  (String
-                                                                  ((Ascii
-                                                                  (true,
-                                                                  false,
-                                                                  true,
-                                                                  false,
-                                                                  false,
-                                                                  true, true,
-                                                                  false)),
-                                                                  (String
-                                                                  ((Ascii
-                                                                  (true,
-                                                                  false,
-                                                                  false,
-                                                                  true,
-                                                                  false,
-                                                                  true, true,
-                                                                  false)),
-                                                                  (String
-                                                                  ((Ascii
-                                                                  (true,
-                                                                  true, true,
-                                                                  false,
-                                                                  false,
-                                                                  true, true,
-                                                                  false)),
-                                                                  (String
-                                                                  ((Ascii
-                                                                  (false,
-                                                                  true, true,
-                                                                  true,
-                                                                  false,
-                                                                  true, true,
-                                                                  false)),
-                                                                  (String
-                                                                  ((Ascii
-                                                                  (true,
-                                                                  true,
-                                                                  false,
-                                                                  false,
-                                                                  false,
-                                                                  false,
-                                                                  true,
-                                                                  false)),
-                                                                  (String
-                                                                  ((Ascii
-                                                                  (true,
-                                                                  true, true,
-                                                                  true,
-                                                                  false,
-                                                                  true, true,
-                                                                  false)),
-                                                                  (String
-                                                                  ((Ascii
-                                                                  (false,
-                                                                  true,
-                                                                  false,
-                                                                  false,
-                                                                  true, true,
-                                                                  true,
-                                                                  false)),
-                                                                  (String
-                                                                  ((Ascii
-                                                                  (false,
-                                                                  true,
-                                                                  false,
-                                                                  false,
-                                                                  true, true,
-                                                                  true,
-                                                                  false)),
-                                                                  (String
-                                                                  ((Ascii
-                                                                  (true,
-                                                                  false,
-                                                                  true,
-                                                                  false,
-                                                                  false,
-                                                                  true, true,
-                                                                  false)),
-                                                                  (String
-                                                                  ((Ascii
-                                                                  (true,
-                                                                  true,
-                                                                  false,
-                                                                  false,
-                                                                  true, true,
-                                                                  true,
-                                                                  false)),
-                                                                  (String
-                                                                  ((Ascii
-                                                                  (false,
-                                                                  false,
-                                                                  false,
-                                                                  false,
-                                                                  true, true,
-                                                                  true,
-                                                                  false)),
-                                                                  (String
-                                                                  ((Ascii
-                                                                  (true,
-                                                                  true, true,
-                                                                  true,
-                                                                  false,
-                                                                  true, true,
-                                                                  false)),
-                                                                  (String
-                                                                  ((Ascii
-                                                                  (false,
-                                                                  true, true,
-                                                                  true,
-                                                                  false,
-                                                                  true, true,
-                                                                  false)),
-                                                                  (String
-                                                                  ((Ascii
-                                                                  (false,
-                                                                  false,
-                                                                  true,
-                                                                  false,
-                                                                  false,
-                                                                  true, true,
-                                                                  false)),
-                                                                  (String
-                                                                  ((Ascii
-                                                                  (true,
-                                                                  false,
-                                                                  true,
-                                                                  false,
-                                                                  false,
-                                                                  true, true,
-                                                                  false)),
-                                                                  (String
-                                                                  ((Ascii
-                                                                  (false,
-                                                                  true, true,
-                                                                  true,
-                                                                  false,
-                                                                  true, true,
-                                                                  false)),
-                                                                  (String
-                                                                  ((Ascii
-                                                                  (false,
-                                                                  false,
-                                                                  true,
-                                                                  false,
-                                                                  true, true,
-                                                                  true,
-                                                                  false)),
-                                                                  (String
-                                                                  ((Ascii
-                                                                  (false,
-                                                                  true,
-                                                                  false,
-                                                                  false,
-                                                                  false,
-                                                                  false,
-                                                                  true,
-                                                                  false)),
-                                                                  (String
-                                                                  ((Ascii
-                                                                  (true,
-                                                                  false,
-                                                                  false,
-                                                                  false,
-                                                                  false,
-                                                                  true, true,
-                                                                  false)),
-                                                                  (String
-                                                                  ((Ascii
-                                                                  (false,
-                                                                  true, true,
-                                                                  true,
-                                                                  false,
-                                                                  true, true,
-                                                                  false)),
-                                                                  (String
-                                                                  ((Ascii
-                                                                  (true,
-                                                                  true,
-                                                                  false,
-                                                                  true,
-                                                                  false,
-                                                                  true, true,
-                                                                  false)),
-                                                                  (String
-                                                                  ((Ascii
-                                                                  (true,
-                                                                  false,
-                                                                  false,
-                                                                  true,
-                                                                  false,
-                                                                  false,
-                                                                  true,
-                                                                  false)),
-                                                                  (String
-                                                                  ((Ascii
-                                                                  (false,
-                                                                  false,
-                                                                  true,
-                                                                  false,
-                                                                  false,
-                                                                  false,
-                                                                  true,
-                                                                  false)),
-                                                                  (String
-                                                                  ((Ascii
-                                                                  (false,
-                                                                  true, true,
-                                                                  true,
-                                                                  false,
-                                                                  false,
-                                                                  true,
-                                                                  false)),
-                                                                  (String
-                                                                  ((Ascii
-                                                                  (true,
-                                                                  false,
-                                                                  true,
-                                                                  false,
-                                                                  true, true,
-                                                                  true,
-                                                                  false)),
-                                                                  (String
-                                                                  ((Ascii
-                                                                  (true,
-                                                                  false,
-                                                                  true, true,
-                                                                  false,
-                                                                  true, true,
-                                                                  false)),
-                                                                  (String
-                                                                  ((Ascii
-                                                                  (false,
-                                                                  true,
-                                                                  false,
-                                                                  false,
-                                                                  false,
-                                                                  true, true,
-                                                                  false)),
-                                                                  (String
-                                                                  ((Ascii
-                                                                  (true,
-                                                                  false,
-                                                                  true,
-                                                                  false,
-                                                                  false,
-                                                                  true, true,
-                                                                  false)),
-                                                                  (String
-                                                                  ((Ascii
-                                                                  (false,
-                                                                  true,
-                                                                  false,
-                                                                  false,
-                                                                  true, true,
-                                                                  true,
-                                                                  false)),
-                                                                  (String
-                                                                  ((Ascii
-                                                                  (true,
-                                                                  false,
-                                                                  false,
-                                                                  false,
-                                                                  true,
-                                                                  false,
-                                                                  true,
-                                                                  false)),
-                                                                  (String
-                                                                  ((Ascii
-                                                                  (true,
-                                                                  false,
-                                                                  true,
-                                                                  false,
-                                                                  true, true,
-                                                                  true,
-                                                                  false)),
-                                                                  (String
-                                                                  ((Ascii
-                                                                  (true,
-                                                                  false,
-                                                                  false,
-                                                                  false,
-                                                                  false,
-                                                                  true, true,
-                                                                  false)),
-                                                                  (String
-                                                                  ((Ascii
-                                                                  (false,
-                                                                  false,
-                                                                  true, true,
-                                                                  false,
-                                                                  true, true,
-                                                                  false)),
-                                                                  (String
-                                                                  ((Ascii
-                                                                  (true,
-                                                                  false,
-                                                                  false,
-                                                                  true,
-                                                                  false,
-                                                                  true, true,
-                                                                  false)),
-                                                                  (String
-                                                                  ((Ascii
-                                                                  (false,
-                                                                  true, true,
-                                                                  false,
-                                                                  false,
-                                                                  true, true,
-                                                                  false)),
-                                                                  (String
-                                                                  ((Ascii
-                                                                  (true,
-                                                                  false,
-                                                                  false,
-                                                                  true,
-                                                                  false,
-                                                                  true, true,
-                                                                  false)),
-                                                                  (String
-                                                                  ((Ascii
-                                                                  (true,
-                                                                  false,
-                                                                  true,
-                                                                  false,
-                                                                  false,
-                                                                  true, true,
-                                                                  false)),
-                                                                  (String
-                                                                  ((Ascii
-                                                                  (false,
-                                                                  true,
-                                                                  false,
-                                                                  false,
-                                                                  true, true,
-                                                                  true,
-                                                                  false)),
-                                                                  EmptyString))))))))))))))))))))))))))))))))))))))))))))))))))))))))))))))))))))))))))))))))))
-                                                                  []) :: (
-    (mkcut (S (S (S (S (S (S (S (S (S (S (S (S (S (S (S (S (S (S (S (S (S (S
-      (S (S (S (S (S (S (S (S (S (S (S (S (S (S (S (S (S (S
-      O)))))))))))))))))))))))))))))))))))))))) (S (S (S (S (S (S (S (S (S (S
-      (S (S (S (S (S (S (S (S (S (S (S (S (S (S (S (S (S (S (S (S (S (S (S (S
-      (S (S (S (S (S (S (S (S (S (S (S (S (S (S (S (S (S (S (S (S (S (S (S (S
-      (S (S (S (S (S (S (S (S (S (S (S (S (S (S (S (S
-      O))))))))))))))))))))))))))))))))))))))))))))))))))))))))))))))))))))))))))
-      (String ((Ascii (false, true, true, false, false, false, true, false)),
-      (String ((Ascii (true, true, true, true, false, true, true, false)),
-      (String ((Ascii (false, true, false, false, true, true, true, false)),
-      (String ((Ascii (true, false, true, false, false, true, true, false)),
-      (String ((Ascii (true, false, false, true, false, true, true, false)),
-      (String ((Ascii (true, true, true, false, false, true, true, false)),
-      (String ((Ascii (false, true, true, true, false, true, true, false)),
-      (String ((Ascii (true, true, false, false, false, false, true, false)),
-      (String ((Ascii (true, true, true, true, false, true, true, false)),
-      (String ((Ascii (false, true, false, false, true, true, true, false)),
-      (String ((Ascii (false, true, false, false, true, true, true, false)),
-      (String ((Ascii (true, false, true, false, false, true, true, false)),
-      (String ((Ascii (true, true, false, false, true, true, true, false)),
-      (String ((Ascii (false, false, false, false, true, true, true, false)),
-      (String ((Ascii (true, true, true, true, false, true, true, false)),
-      (String ((Ascii (false, true, true, true, false, true, true, false)),
-      (String ((Ascii (false, false, true, false, false, true, true, false)),
-      (String ((Ascii (true, false, true, false, false, true, true, false)),
-      (String ((Ascii (false, true, true, true, false, true, true, false)),
-      (String ((Ascii (false, false, true, false, true, true, true, false)),
-      (String ((Ascii (false, true, false, false, false, false, true,
-      false)), (String ((Ascii (true, false, false, false, false, true, true,
-      false)), (String ((Ascii (false, true, true, true, false, true, true,
-      false)), (String ((Ascii (true, true, false, true, false, true, true,
-      false)), (String ((Ascii (true, false, false, true, false, false, true,
-      false)), (String ((Ascii (false, false, true, false, false, false,
-      true, false)), (String ((Ascii (false, true, true, true, false, false,
-      true, false)), (String ((Ascii (true, false, true, false, true, true,
-      true, false)), (String ((Ascii (true, false, true, true, false, true,
-      true, false)), (String ((Ascii (false, true, false, false, false, true,
-      true, false)), (String ((Ascii (true, false, true, false, false, true,
-      true, false)), (String ((Ascii (false, true, false, false, true, true,
-      true, false)),
-      EmptyString))))))))))))))))))))))))))))))))))))))))))))))))))))))))))))))))
-      ((String ((Ascii (true, true, false, false, true, true, true, false)),
-      (String ((Ascii (false, false, true, false, true, true, true, false)),
-      (String ((Ascii (false, true, false, false, true, true, true, false)),
-      (String ((Ascii (true, false, false, true, false, true, true, false)),
-      (String ((Ascii (false, true, true, true, false, true, true, false)),
-      (String ((Ascii (true, true, true, false, false, true, true, false)),
-      (String ((Ascii (true, true, false, false, true, true, true, false)),
-      (String ((Ascii (false, true, true, true, false, true, false, false)),
-      (String ((Ascii (false, false, true, false, true, false, true, false)),
-      (String ((Ascii (false, true, false, false, true, true, true, false)),
-      (String ((Ascii (true, false, false, true, false, true, true, false)),
-      (String ((Ascii (true, false, true, true, false, true, true, false)),
-      (String ((Ascii (true, true, false, false, true, false, true, false)),
-      (String ((Ascii (false, false, false, false, true, true, true, false)),
-      (String ((Ascii (true, false, false, false, false, true, true, false)),
-      (String ((Ascii (true, true, false, false, false, true, true, false)),
-      (String ((Ascii (true, false, true, false, false, true, true, false)),
-      EmptyString)))))))))))))))))))))))))))))))))) :: [])) :: ((mkcut (S (S
-                                                                  (S (S (S (S
-                                                                  (S (S (S (S
-                                                                  (S (S (S (S
-                                                                  (S (S (S (S
-                                                                  (S (S (S (S
-                                                                  (S (S (S (S
-                                                                  (S (S (S (S
-                                                                  (S (S (S (S
-                                                                  (S (S (S (S
-                                                                  (S (S (S (S
-                                                                  (S (S (S (S
-                                                                  (S (S (S (S
-                                                                  (S (S (S (S
-                                                                  (S (S (S (S
-                                                                  (S (S (S (S
-                                                                  (S (S (S (S
-                                                                  (S (S (S (S
-                                                                  (S (S (S (S
-                                                                  O))))))))))))))))))))))))))))))))))))))))))))))))))))))))))))))))))))))))))
-                                                                  (S (S (S (S
-                                                                  (S (S (S (S
-                                                                  (S (S (S (S
-                                                                  (S (S (S (S
-                                                                  (S (S (S (S
-                                                                  (S (S (S (S
-                                                                  (S (S (S (S
-                                                                  (S (S (S (S
-                                                                  (S (S (S (S
-                                                                  (S (S (S (S
-                                                                  (S (S (S (S
-                                                                  (S (S (S (S
-                                                                  (S (S (S (S
-                                                                  (S (S (S (S
-                                                                  (S (S (S (S
-                                                                  (S (S (S (S
-                                                                  (S (S (S (S
-                                                                  (S (S (S (S
-                                                                  (S (S (S (S
-                                                                  (S
-                                                                  O)))))))))))))))))))))))))))))))))))))))))))))))))))))))))))))))))))))))))))))
-                                                                  (String
-                                                                  ((Ascii
-                                                                  (false,
-                                                                  true, true,
-                                                                  false,
-                                                                  false,
-                                                                  false,
-                                                                  true,
-                                                                  false)),
-                                                                  (String
-                                                                  ((Ascii
-                                                                  (true,
-                                                                  true, true,
-                                                                  true,
-                                                                  false,
-                                                                  true, true,
-                                                                  false)),
-                                                                  (String
-                                                                  ((Ascii
-                                                                  (false,
-                                                                  true,
-                                                                  false,
-                                                                  false,
-                                                                  true, true,
-                                                                  true,
-                                                                  false)),
-                                                                  (String
-                                                                  ((Ascii
-                                                                  (true,
-                                                                  false,
-                                                                  true,
-                                                                  false,
-                                                                  false,
-                                                                  true, true,
-                                                                  false)),
-                                                                  (String
-                                                                  ((Ascii
-                                                                  (true,
-                                                                  false,
-                                                                  false,
-                                                                  true,
-                                                                  false,
-                                                                  true, true,
-                                                                  false)),
-                                                                  (String
-                                                                  ((Ascii
-                                                                  (true,
-                                                                  true, true,
-                                                                  false,
-                                                                  false,
-                                                                  true, true,
-                                                                  false)),
-                                                                  (String
-                                                                  ((Ascii
-                                                                  (false,
-                                                                  true, true,
-                                                                  true,
-                                                                  false,
-                                                                  true, true,
-                                                                  false)),
-                                                                  (String
-                                                                  ((Ascii
-                                                                  (true,
-                                                                  true,
-                                                                  false,
-                                                                  false,
-                                                                  false,
-                                                                  false,
-                                                                  true,
-                                                                  false)),
-                                                                  (String
-                                                                  ((Ascii
-                                                                  (true,
-                                                                  true, true,
-                                                                  true,
-                                                                  false,
-                                                                  true, true,
-                                                                  false)),
-                                                                  (String
-                                                                  ((Ascii
-                                                                  (false,
-                                                                  true,
-                                                                  false,
-                                                                  false,
-                                                                  true, true,
-                                                                  true,
-                                                                  false)),
-                                                                  (String
-                                                                  ((Ascii
-                                                                  (false,
-                                                                  true,
-                                                                  false,
-                                                                  false,
-                                                                  true, true,
-                                                                  true,
-                                                                  false)),
-                                                                  (String
-                                                                  ((Ascii
-                                                                  (true,
-                                                                  false,
-                                                                  true,
-                                                                  false,
-                                                                  false,
-                                                                  true, true,
-                                                                  false)),
-                                                                  (String
-                                                                  ((Ascii
-                                                                  (true,
-                                                                  true,
-                                                                  false,
-                                                                  false,
-                                                                  true, true,
-                                                                  true,
-                                                                  false)),
-                                                                  (String
-                                                                  ((Ascii
-                                                                  (false,
-                                                                  false,
-                                                                  false,
-                                                                  false,
-                                                                  true, true,
-                                                                  true,
-                                                                  false)),
-                                                                  (String
-                                                                  ((Ascii
-                                                                  (true,
-                                                                  true, true,
-                                                                  true,
-                                                                  false,
-                                                                  true, true,
-                                                                  false)),
-                                                                  (String
-                                                                  ((Ascii
-                                                                  (false,
-                                                                  true, true,
-                                                                  true,
-                                                                  false,
-                                                                  true, true,
-                                                                  false)),
-                                                                  (String
-                                                                  ((Ascii
-                                                                  (false,
-                                                                  false,
-                                                                  true,
-                                                                  false,
-                                                                  false,
-                                                                  true, true,
-                                                                  false)),
-                                                                  (String
-                                                                  ((Ascii
-                                                                  (true,
-                                                                  false,
-                                                                  true,
-                                                                  false,
-                                                                  false,
-                                                                  true, true,
-                                                                  false)),
-                                                                  (String
-                                                                  ((Ascii
-                                                                  (false,
-                                                                  true, true,
-                                                                  true,
-                                                                  false,
-                                                                  true, true,
-                                                                  false)),
-                                                                  (String
-                                                                  ((Ascii
-                                                                  (false,
-                                                                  false,
-                                                                  true,
-                                                                  false,
-                                                                  true, true,
-                                                                  true,
-                                                                  false)),
-                                                                  (String
-                                                                  ((Ascii
-                                                                  (false,
-                                                                  true,
-                                                                  false,
-                                                                  false,
-                                                                  false,
-                                                                  false,
-                                                                  true,
-                                                                  false)),
-                                                                  (String
-                                                                  ((Ascii
-                                                                  (true,
-                                                                  false,
-                                                                  false,
-                                                                  false,
-                                                                  false,
-                                                                  true, true,
-                                                                  false)),
-                                                                  (String
-                                                                  ((Ascii
-                                                                  (false,
-                                                                  true, true,
-                                                                  true,
-                                                                  false,
-                                                                  true, true,
-                                                                  false)),
-                                                                  (String
-                                                                  ((Ascii
-                                                                  (true,
-                                                                  true,
-                                                                  false,
-                                                                  true,
-                                                                  false,
-                                                                  true, true,
-                                                                  false)),
-                                                                  (String
-                                                                  ((Ascii
-                                                                  (false,
-                                                                  true,
-                                                                  false,
-                                                                  false,
-                                                                  false,
-                                                                  false,
-                                                                  true,
-                                                                  false)),
-                                                                  (String
-                                                                  ((Ascii
-                                                                  (false,
-                                                                  true,
-                                                                  false,
-                                                                  false,
-                                                                  true, true,
-                                                                  true,
-                                                                  false)),
-                                                                  (String
-                                                                  ((Ascii
-                                                                  (true,
-                                                                  false,
-                                                                  false,
-                                                                  false,
-                                                                  false,
-                                                                  true, true,
-                                                                  false)),
-                                                                  (String
-                                                                  ((Ascii
-                                                                  (false,
-                                                                  true, true,
-                                                                  true,
-                                                                  false,
-                                                                  true, true,
-                                                                  false)),
-                                                                  (String
-                                                                  ((Ascii
-                                                                  (true,
-                                                                  true,
-                                                                  false,
-                                                                  false,
-                                                                  false,
-                                                                  true, true,
-                                                                  false)),
-                                                                  (String
-                                                                  ((Ascii
-                                                                  (false,
-                                                                  false,
-                                                                  false,
-                                                                  true,
-                                                                  false,
-                                                                  true, true,
-                                                                  false)),
-                                                                  (String
-                                                                  ((Ascii
-                                                                  (true,
-                                                                  true,
-                                                                  false,
-                                                                  false,
-                                                                  false,
-                                                                  false,
-                                                                  true,
-                                                                  false)),
-                                                                  (String
-                                                                  ((Ascii
-                                                                  (true,
-                                                                  true, true,
-                                                                  true,
-                                                                  false,
-                                                                  true, true,
-                                                                  false)),
-                                                                  (String
-                                                                  ((Ascii
-                                                                  (true,
-                                                                  false,
-                                                                  true,
-                                                                  false,
-                                                                  true, true,
-                                                                  true,
-                                                                  false)),
-                                                                  (String
-                                                                  ((Ascii
-                                                                  (false,
-                                                                  true, true,
-                                                                  true,
-                                                                  false,
-                                                                  true, true,
-                                                                  false)),
-                                                                  (String
-                                                                  ((Ascii
-                                                                  (false,
-                                                                  false,
-                                                                  true,
-                                                                  false,
-                                                                  true, true,
-                                                                  true,
-                                                                  false)),
-                                                                  (String
-                                                                  ((Ascii
-                                                                  (false,
-                                                                  true,
-                                                                  false,
-                                                                  false,
-                                                                  true, true,
-                                                                  true,
-                                                                  false)),
-                                                                  (String
-                                                                  ((Ascii
-                                                                  (true,
-                                                                  false,
-                                                                  false,
-                                                                  true, true,
-                                                                  true, true,
-                                                                  false)),
-                                                                  (String
-                                                                  ((Ascii
-                                                                  (true,
-                                                                  true,
-                                                                  false,
-                                                                  false,
-                                                                  false,
-                                                                  false,
-                                                                  true,
-                                                                  false)),
-                                                                  (String
-                                                                  ((Ascii
-                                                                  (true,
-                                                                  true, true,
-                                                                  true,
-                                                                  false,
-                                                                  true, true,
-                                                                  false)),
-                                                                  (String
-                                                                  ((Ascii
-                                                                  (false,
-                                                                  false,
-                                                                  true,
-                                                                  false,
-                                                                  false,
-                                                                  true, true,
-                                                                  false)),
-                                                                  (String
-                                                                  ((Ascii
-                                                                  (true,
-                                                                  false,
-                                                                  true,
-                                                                  false,
-                                                                  false,
-                                                                  true, true,
-                                                                  false)),
-                                                                  EmptyString))))))))))))))))))))))))))))))))))))))))))))))))))))))))))))))))))))))))))))))))))
-                                                                  ((String
-                                                                  ((Ascii
-                                                                  (true,
-                                                                  true,
-                                                                  false,
-                                                                  false,
-                                                                  true, true,
-                                                                  true,
-                                                                  false)),
-                                                                  (String
-                                                                  ((Ascii
-                                                                  (false,
-                                                                  false,
-                                                                  true,
-                                                                  false,
-                                                                  true, true,
-                                                                  true,
-                                                                  false)),
-                                                                  (String
-                                                                  ((Ascii
-                                                                  (false,
-                                                                  true,
-                                                                  false,
-                                                                  false,
-                                                                  true, true,
-                                                                  true,
-                                                                  false)),
-                                                                  (String
-                                                                  ((Ascii
-                                                                  (true,
-                                                                  false,
-                                                                  false,
-                                                                  true,
-                                                                  false,
-                                                                  true, true,
-                                                                  false)),
-                                                                  (String
-                                                                  ((Ascii
-                                                                  (false,
-                                                                  true, true,
-                                                                  true,
-                                                                  false,
-                                                                  true, true,
-                                                                  false)),
-                                                                  (String
-                                                                  ((Ascii
-                                                                  (true,
-                                                                  true, true,
-                                                                  false,
-                                                                  false,
-                                                                  true, true,
-                                                                  false)),
-                                                                  (String
-                                                                  ((Ascii
-                                                                  (true,
-                                                                  true,
-                                                                  false,
-                                                                  false,
-                                                                  true, true,
-                                                                  true,
-                                                                  false)),
-                                                                  (String
-                                                                  ((Ascii
-                                                                  (false,
-                                                                  true, true,
-                                                                  true,
-                                                                  false,
-                                                                  true,
-                                                                  false,
-                                                                  false)),
-                                                                  (String
-                                                                  ((Ascii
-                                                                  (false,
-                                                                  false,
-                                                                  true,
-                                                                  false,
-                                                                  true,
-                                                                  false,
-                                                                  true,
-                                                                  false)),
-                                                                  (String
-                                                                  ((Ascii
-                                                                  (false,
-                                                                  true,
-                                                                  false,
-                                                                  false,
-                                                                  true, true,
-                                                                  true,
-                                                                  false)),
-                                                                  (String
-                                                                  ((Ascii
-                                                                  (true,
-                                                                  false,
-                                                                  false,
-                                                                  true,
-                                                                  false,
-                                                                  true, true,
-                                                                  false)),
-                                                                  (String
-                                                                  ((Ascii
-                                                                  (true,
-                                                                  false,
-                                                                  true, true,
-                                                                  false,
-                                                                  true, true,
-                                                                  false)),
-                                                                  (String
-                                                                  ((Ascii
-                                                                  (true,
-                                                                  true,
-                                                                  false,
-                                                                  false,
-                                                                  true,
-                                                                  false,
-                                                                  true,
-                                                                  false)),
-                                                                  (String
-                                                                  ((Ascii
-                                                                  (false,
-                                                                  false,
-                                                                  false,
-                                                                  false,
-                                                                  true, true,
-                                                                  true,
-                                                                  false)),
-                                                                  (String
-                                                                  ((Ascii
-                                                                  (true,
-                                                                  false,
-                                                                  false,
-                                                                  false,
-                                                                  false,
-                                                                  true, true,
-                                                                  false)),
-                                                                  (String
-                                                                  ((Ascii
-                                                                  (true,
-                                                                  true,
-                                                                  false,
-                                                                  false,
-                                                                  false,
-                                                                  true, true,
-                                                                  false)),
-                                                                  (String
-                                                                  ((Ascii
-                                                                  (true,
-                                                                  false,
-                                                                  true,
-                                                                  false,
-                                                                  false,
-                                                                  true, true,
-                                                                  false)),
-                                                                  EmptyString)))))))))))))))))))))))))))))))))) :: [])) :: (
-    (mkcut (S (S (S (S (S (S (S (S (S (S (S (S (S (S (S (S (S (S (S (S (S (S
-      (S (S (S (S (S (S (S (S (S (S (S (S (S (S (S (S (S (S (S (S (S (S (S (S
-      (S (S (S (S (S (S (S (S (S (S (S (S (S (S (S (S (S (S (S (S (S (S (S (S
-      (S (S (S (S (S (S (S
-      O)))))))))))))))))))))))))))))))))))))))))))))))))))))))))))))))))))))))))))))
-      (S (S (S (S (S (S (S (S (S (S (S (S (S (S (S (S (S (S (S (S (S (S (S (S
-      (S (S (S (S (S (S (S (S (S (S (S (S (S (S (S (S (S (S (S (S (S (S (S (S
-      (S (S (S (S (S (S (S (S (S (S (S (S (S (S (S (S (S (S (S (S (S (S (S (S
-      (S (S (S (S (S (S (S (S (S (S (S
-      O)))))))))))))))))))))))))))))))))))))))))))))))))))))))))))))))))))))))))))))))))))
-      EmptyString []) :: ((mkcut (S (S (S (S (S (S (S (S (S (S (S (S (S (S (S
-                            (S (S (S (S (S (S (S (S (S (S (S (S (S (S (S (S
-                            (S (S (S (S (S (S (S (S (S (S (S (S (S (S (S (S
-                            (S (S (S (S (S (S (S (S (S (S (S (S (S (S (S (S
-                            (S (S (S (S (S (S (S (S (S (S (S (S (S (S (S (S
-                            (S (S (S (S
-                            O)))))))))))))))))))))))))))))))))))))))))))))))))))))))))))))))))))))))))))))))))))
-                            (S (S (S (S (S (S (S (S (S (S (S (S (S (S (S (S
-                            (S (S (S (S (S (S (S (S (S (S (S (S (S (S (S (S
-                            (S (S (S (S (S (S (S (S (S (S (S (S (S (S (S (S
-                            (S (S (S (S (S (S (S (S (S (S (S (S (S (S (S (S
-                            (S (S (S (S (S (S (S (S (S (S (S (S (S (S (S (S
-                            (S (S (S (S (S (S (S
-                            O)))))))))))))))))))))))))))))))))))))))))))))))))))))))))))))))))))))))))))))))))))))))
-                            (String ((Ascii (true, true, false, false, true,
-                            false, true, false)), (String ((Ascii (true,
-                            false, true, false, false, true, true, false)),
-                            (String ((Ascii (true, false, false, false, true,
-                            true, true, false)), (String ((Ascii (true,
-                            false, true, false, true, true, true, false)),
-                            (String ((Ascii (true, false, true, false, false,
-                            true, true, false)), (String ((Ascii (false,
-                            true, true, true, false, true, true, false)),
-                            (String ((Ascii (true, true, false, false, false,
-                            true, true, false)), (String ((Ascii (true,
-                            false, true, false, false, true, true, false)),
-                            (String ((Ascii (false, true, true, true, false,
-                            false, true, false)), (String ((Ascii (true,
-                            false, true, false, true, true, true, false)),
-                            (String ((Ascii (true, false, true, true, false,
-                            true, true, false)), (String ((Ascii (false,
-                            true, false, false, false, true, true, false)),
-                            (String ((Ascii (true, false, true, false, false,
-                            true, true, false)), (String ((Ascii (false,
-                            true, false, false, true, true, true, false)),
-                            EmptyString)))))))))))))))))))))))))))) ((String
-                            ((Ascii (false, false, false, false, true, true,
-                            true, false)), (String ((Ascii (true, false,
-                            false, false, false, true, true, false)), (String
-                            ((Ascii (false, true, false, false, true, true,
-                            true, false)), (String ((Ascii (true, true,
-                            false, false, true, true, true, false)), (String
-                            ((Ascii (true, false, true, false, false, true,
-                            true, false)), (String ((Ascii (false, true,
-                            true, true, false, false, true, false)), (String
-                            ((Ascii (true, false, true, false, true, true,
-                            true, false)), (String ((Ascii (true, false,
-                            true, true, false, true, true, false)), (String
-                            ((Ascii (false, true, true, false, false, false,
-                            true, false)), (String ((Ascii (true, false,
-                            false, true, false, true, true, false)), (String
-                            ((Ascii (true, false, true, false, false, true,
-                            true, false)), (String ((Ascii (false, false,
-                            true, true, false, true, true, false)), (String
-                            ((Ascii (false, false, true, false, false, true,
-                            true, false)),
-                            EmptyString)))))))))))))))))))))))))) :: [])) :: (
-    (mkcut (S (S (S (S (S (S (S (S (S (S (S (S (S (S (S (S (S (S (S (S (S (S
-      (S (S (S (S (S (S (S (S (S (S (S (S (S (S (S (S (S (S (S (S (S (S (S (S
-      (S (S (S (S (S (S (S (S (S (S (S (S (S (S (S (S (S (S (S (S (S (S (S (S
-      (S (S (S (S (S (S (S (S (S (S (S (S (S (S (S (S (S
-      O)))))))))))))))))))))))))))))))))))))))))))))))))))))))))))))))))))))))))))))))))))))))
-      (S (S (S (S (S (S (S (S (S (S (S (S (S (S (S (S (S (S (S (S (S (S (S (S
-      (S (S (S (S (S (S (S (S (S (S (S (S (S (S (S (S (S (S (S (S (S (S (S (S
-      (S (S (S (S (S (S (S (S (S (S (S (S (S (S (S (S (S (S (S (S (S (S (S (S
-      (S (S (S (S (S (S (S (S (S (S (S (S (S (S (S (S (S (S (S (S (S (S
-      O))))))))))))))))))))))))))))))))))))))))))))))))))))))))))))))))))))))))))))))))))))))))))))))
-      (String ((Ascii (true, false, true, false, false, false, true, false)),
-      (String ((Ascii (false, true, true, true, false, true, true, false)),
-      (String ((Ascii (false, false, true, false, true, true, true, false)),
-      (String ((Ascii (false, true, false, false, true, true, true, false)),
-      (String ((Ascii (true, false, false, true, true, true, true, false)),
-      (String ((Ascii (false, false, true, false, false, false, true,
-      false)), (String ((Ascii (true, false, true, false, false, true, true,
-      false)), (String ((Ascii (false, false, true, false, true, true, true,
-      false)), (String ((Ascii (true, false, false, false, false, true, true,
-      false)), (String ((Ascii (true, false, false, true, false, true, true,
-      false)), (String ((Ascii (false, false, true, true, false, true, true,
-      false)), (String ((Ascii (true, true, false, false, true, false, true,
-      false)), (String ((Ascii (true, false, true, false, false, true, true,
-      false)), (String ((Ascii (true, false, false, false, true, true, true,
-      false)), (String ((Ascii (true, false, true, false, true, true, true,
-      false)), (String ((Ascii (true, false, true, false, false, true, true,
-      false)), (String ((Ascii (false, true, true, true, false, true, true,
-      false)), (String ((Ascii (true, true, false, false, false, true, true,
-      false)), (String ((Ascii (true, false, true, false, false, true, true,
-      false)), (String ((Ascii (false, true, true, true, false, false, true,
-      false)), (String ((Ascii (true, false, true, false, true, true, true,
-      false)), (String ((Ascii (true, false, true, true, false, true, true,
-      false)), (String ((Ascii (false, true, false, false, false, true, true,
-      false)), (String ((Ascii (true, false, true, false, false, true, true,
-      false)), (String ((Ascii (false, true, false, false, true, true, true,
-      false)), EmptyString))))))))))))))))))))))))))))))))))))))))))))))))))
-      ((String ((Ascii (false, false, false, false, true, true, true,
-      false)), (String ((Ascii (true, false, false, false, false, true, true,
-      false)), (String ((Ascii (false, true, false, false, true, true, true,
-      false)), (String ((Ascii (true, true, false, false, true, true, true,
-      false)), (String ((Ascii (true, false, true, false, false, true, true,
-      false)), (String ((Ascii (false, true, true, true, false, false, true,
-      false)), (String ((Ascii (true, false, true, false, true, true, true,
-      false)), (String ((Ascii (true, false, true, true, false, true, true,
-      false)), (String ((Ascii (false, true, true, false, false, false, true,
-      false)), (String ((Ascii (true, false, false, true, false, true, true,
-      false)), (String ((Ascii (true, false, true, false, false, true, true,
-      false)), (String ((Ascii (false, false, true, true, false, true, true,
-      false)), (String ((Ascii (false, false, true, false, false, true, true,
-      false)), EmptyString)))))))))))))))))))))))))) :: [])) :: []))))))))) }
+type rerr =
+| RInj
+| RUnexpectedEOF
 
-(** val l_Addenda98 : layout **)
+type term =
+| TEOF
+| TErr of rerr
 
-let l_Addenda98 =
-  { l_name = (String ((Ascii (true, false, false, false, false, false, true,
-    false)), (String ((Ascii (false, false, true, false, false, true, true,
-    false)), (String ((Ascii (false, false, true, false, false, true, true,
-    false)), (String ((Ascii (true, false, true, false, false, true, true,
-    false)), (String ((Ascii (false, true, true, true, false, true, true,
-    false)), (String ((Ascii (false, false, true, false, false, true, true,
-    false)), (String ((Ascii (true, false, false, false, false, true, true,
-    false)), (String ((Ascii (true, false, false, true, true, true, false,
-    false)), (String ((Ascii (false, false, false, true, true, true, false,
-    false)), EmptyString)))))))))))))))))); l_ix = IRune; l_segs = ((SLit
-    ((Npos (XI (XI (XI (XO (XI XH)))))) :: [])) :: ((SRaw (String ((Ascii
-    (false, false, true, false, true, false, true, false)), (String ((Ascii
-    (true, false, false, true, true, true, true, false)), (String ((Ascii
-    (false, false, false, false, true, true, true, false)), (String ((Ascii
-    (true, false, true, false, false, true, true, false)), (String ((Ascii
-    (true, true, false, false, false, false, true, false)), (String ((Ascii
-    (true, true, true, true, false, true, true, false)), (String ((Ascii
-    (false, false, true, false, false, true, true, false)), (String ((Ascii
-    (true, false, true, false, false, true, true, false)),
-    EmptyString))))))))))))))))) :: ((SRaw (String ((Ascii (true, true,
-    false, false, false, false, true, false)), (String ((Ascii (false, false,
-    false, true, false, true, true, false)), (String ((Ascii (true, false,
-    false, false, false, true, true, false)), (String ((Ascii (false, true,
-    true, true, false, true, true, false)), (String ((Ascii (true, true,
-    true, false, false, true, true, false)), (String ((Ascii (true, false,
-    true, false, false, true, true, false)), (String ((Ascii (true, true,
-    false, false, false, false, true, false)), (String ((Ascii (true, true,
-    true, true, false, true, true, false)), (String ((Ascii (false, false,
-    true, false, false, true, true, false)), (String ((Ascii (true, false,
-    true, false, false, true, true, false)),
-    EmptyString))))))))))))))))))))) :: ((SStr ((String ((Ascii (true, true,
-    true, true, false, false, true, false)), (String ((Ascii (false, true,
-    false, false, true, true, true, false)), (String ((Ascii (true, false,
-    false, true, false, true, true, false)), (String ((Ascii (true, true,
-    true, false, false, true, true, false)), (String ((Ascii (true, false,
-    false, true, false, true, true, false)), (String ((Ascii (false, true,
-    true, true, false, true, true, false)), (String ((Ascii (true, false,
-    false, false, false, true, true, false)), (String ((Ascii (false, false,
-    true, true, false, true, true, false)), (String ((Ascii (false, false,
-    true, false, true, false, true, false)), (String ((Ascii (false, true,
-    false, false, true, true, true, false)), (String ((Ascii (true, false,
-    false, false, false, true, true, false)), (String ((Ascii (true, true,
-    false, false, false, true, true, false)), (String ((Ascii (true, false,
-    true, false, false, true, true, false)),
-    EmptyString)))))))))))))))))))))))))), (S (S (S (S (S (S (S (S (S (S (S
-    (S (S (S (S O))))))))))))))))) :: ((SLit ((Npos (XO (XO (XO (XO (XO
-    XH)))))) :: ((Npos (XO (XO (XO (XO (XO XH)))))) :: ((Npos (XO (XO (XO (XO
-    (XO XH)))))) :: ((Npos (XO (XO (XO (XO (XO XH)))))) :: ((Npos (XO (XO (XO
-    (XO (XO XH)))))) :: ((Npos (XO (XO (XO (XO (XO
-    XH)))))) :: []))))))) :: ((SStr ((String ((Ascii (true, true, true, true,
-    false, false, true, false)), (String ((Ascii (false, true, false, false,
-    true, true, true, false)), (String ((Ascii (true, false, false, true,
-    false, true, true, false)), (String ((Ascii (true, true, true, false,
-    false, true, true, false)), (String ((Ascii (true, false, false, true,
-    false, true, true, false)), (String ((Ascii (false, true, true, true,
-    false, true, true, false)), (String ((Ascii (true, false, false, false,
-    false, true, true, false)), (String ((Ascii (false, false, true, true,
-    false, true, true, false)), (String ((Ascii (false, false, true, false,
-    false, false, true, false)), (String ((Ascii (false, true, true, false,
-    false, false, true, false)), (String ((Ascii (true, false, false, true,
-    false, false, true, false)), EmptyString)))))))))))))))))))))), (S (S (S
-    (S (S (S (S (S O)))))))))) :: ((SCustom ((String ((Ascii (true, false,
-    false, false, false, false, true, false)), (String ((Ascii (false, false,
-    true, false, false, true, true, false)), (String ((Ascii (false, false,
-    true, false, false, true, true, false)), (String ((Ascii (true, false,
-    true, false, false, true, true, false)), (String ((Ascii (false, true,
-    true, true, false, true, true, false)), (String ((Ascii (false, false,
-    true, false, false, true, true, false)), (String ((Ascii (true, false,
-    false, false, false, true, true, false)), (String ((Ascii (true, false,
-    false, true, true, true, false, false)), (String ((Ascii (false, false,
-    false, true, true, true, false, false)), (String ((Ascii (false, true,
-    true, true, false, true, false, false)), (String ((Ascii (true, true,
-    false, false, false, false, true, false)), (String ((Ascii (true, true,
-    true, true, false, true, true, false)), (String ((Ascii (false, true,
-    false, false, true, true, true, false)), (String ((Ascii (false, true,
-    false, false, true, true, true, false)), (String ((Ascii (true, false,
-    true, false, false, true, true, false)), (String ((Ascii (true, true,
-    false, false, false, true, true, false)), (String ((Ascii (false, false,
-    true, false, true, true, true, false)), (String ((Ascii (true, false,
-    true, false, false, true, true, false)), (String ((Ascii (false, false,
-    true, false, false, true, true, false)), (String ((Ascii (false, false,
-    true, false, false, false, true, false)), (String ((Ascii (true, false,
-    false, false, false, true, true, false)), (String ((Ascii (false, false,
-    true, false, true, true, true, false)), (String ((Ascii (true, false,
-    false, false, false, true, true, false)), (String ((Ascii (false, true,
-    true, false, false, false, true, false)), (String ((Ascii (true, false,
-    false, true, false, true, true, false)), (String ((Ascii (true, false,
-    true, false, false, true, true, false)), (String ((Ascii (false, false,
-    true, true, false, true, true, false)), (String ((Ascii (false, false,
-    true, false, false, true, true, false)),
-    EmptyString)))))))))))))))))))))))))))))))))))))))))))))))))))))))),
-    (String ((Ascii (true, true, true, false, true, true, false, false)),
-    (String ((Ascii (false, true, false, false, false, true, true, false)),
-    (String ((Ascii (false, true, true, false, false, true, true, false)),
-    (String ((Ascii (true, false, false, true, true, true, false, false)),
-    (String ((Ascii (false, true, true, false, false, true, true, false)),
-    (String ((Ascii (true, true, false, false, false, true, true, false)),
-    (String ((Ascii (false, true, false, false, false, true, true, false)),
-    (String ((Ascii (false, true, false, false, true, true, false, false)),
-    (String ((Ascii (false, true, false, false, true, true, false, false)),
-    (String ((Ascii (true, false, true, false, true, true, false, false)),
-    (String ((Ascii (false, true, true, false, true, true, false, false)),
-    (String ((Ascii (false, false, true, false, true, true, false, false)),
-    EmptyString)))))))))))))))))))))))))) :: ((SLit ((Npos (XO (XO (XO (XO
-    (XO XH)))))) :: ((Npos (XO (XO (XO (XO (XO XH)))))) :: ((Npos (XO (XO (XO
-    (XO (XO XH)))))) :: ((Npos (XO (XO (XO (XO (XO XH)))))) :: ((Npos (XO (XO
-    (XO (XO (XO XH)))))) :: ((Npos (XO (XO (XO (XO (XO XH)))))) :: ((Npos (XO
-    (XO (XO (XO (XO XH)))))) :: ((Npos (XO (XO (XO (XO (XO XH)))))) :: ((Npos
-    (XO (XO (XO (XO (XO XH)))))) :: ((Npos (XO (XO (XO (XO (XO
-    XH)))))) :: ((Npos (XO (XO (XO (XO (XO XH)))))) :: ((Npos (XO (XO (XO (XO
-    (XO XH)))))) :: ((Npos (XO (XO (XO (XO (XO XH)))))) :: ((Npos (XO (XO (XO
-    (XO (XO XH)))))) :: ((Npos (XO (XO (XO (XO (XO
-    XH)))))) :: [])))))))))))))))) :: ((SStr ((String ((Ascii (false, false,
-    true, false, true, false, true, false)), (String ((Ascii (false, true,
-    false, false, true, true, true, false)), (String ((Ascii (true, false,
-    false, false, false, true, true, false)), (String ((Ascii (true, true,
-    false, false, false, true, true, false)), (String ((Ascii (true, false,
-    true, false, false, true, true, false)), (String ((Ascii (false, true,
-    true, true, false, false, true, false)), (String ((Ascii (true, false,
-    true, false, true, true, true, false)), (String ((Ascii (true, false,
-    true, true, false, true, true, false)), (String ((Ascii (false, true,
-    false, false, false, true, true, false)), (String ((Ascii (true, false,
-    true, false, false, true, true, false)), (String ((Ascii (false, true,
-    false, false, true, true, true, false)),
-    EmptyString)))))))))))))))))))))), (S (S (S (S (S (S (S (S (S (S (S (S (S
-    (S (S O))))))))))))))))) :: []))))))))); l_cuts =
-    ((mkcut O (S O) EmptyString []) :: ((mkcut (S O) (S (S (S O))) (String
-                                          ((Ascii (false, false, true, false,
-                                          true, false, true, false)), (String
-                                          ((Ascii (true, false, false, true,
-                                          true, true, true, false)), (String
-                                          ((Ascii (false, false, false,
-                                          false, true, true, true, false)),
-                                          (String ((Ascii (true, false, true,
-                                          false, false, true, true, false)),
-                                          (String ((Ascii (true, true, false,
-                                          false, false, false, true, false)),
-                                          (String ((Ascii (true, true, true,
-                                          true, false, true, true, false)),
-                                          (String ((Ascii (false, false,
-                                          true, false, false, true, true,
-                                          false)), (String ((Ascii (true,
-                                          false, true, false, false, true,
-                                          true, false)),
-                                          EmptyString)))))))))))))))) []) :: (
-    (mkcut (S (S (S O))) (S (S (S (S (S (S O)))))) (String ((Ascii (true,
-      true, false, false, false, false, true, false)), (String ((Ascii
-      (false, false, false, true, false, true, true, false)), (String ((Ascii
-      (true, false, false, false, false, true, true, false)), (String ((Ascii
-      (false, true, true, true, false, true, true, false)), (String ((Ascii
-      (true, true, true, false, false, true, true, false)), (String ((Ascii
-      (true, false, true, false, false, true, true, false)), (String ((Ascii
-      (true, true, false, false, false, false, true, false)), (String ((Ascii
-      (true, true, true, true, false, true, true, false)), (String ((Ascii
-      (false, false, true, false, false, true, true, false)), (String ((Ascii
-      (true, false, true, false, false, true, true, false)),
-      EmptyString)))))))))))))))))))) []) :: ((mkcut (S (S (S (S (S (S
-                                                O)))))) (S (S (S (S (S (S (S
-                                                (S (S (S (S (S (S (S (S (S (S
-                                                (S (S (S (S
-                                                O)))))))))))))))))))))
-                                                (String ((Ascii (true, true,
-                                                true, true, false, false,
-                                                true, false)), (String
-                                                ((Ascii (false, true, false,
-                                                false, true, true, true,
-                                                false)), (String ((Ascii
-                                                (true, false, false, true,
-                                                false, true, true, false)),
-                                                (String ((Ascii (true, true,
-                                                true, false, false, true,
-                                                true, false)), (String
-                                                ((Ascii (true, false, false,
-                                                true, false, true, true,
-                                                false)), (String ((Ascii
-                                                (false, true, true, true,
-                                                false, true, true, false)),
-                                                (String ((Ascii (true, false,
-                                                false, false, false, true,
-                                                true, false)), (String
-                                                ((Ascii (false, false, true,
-                                                true, false, true, true,
-                                                false)), (String ((Ascii
-                                                (false, false, true, false,
-                                                true, false, true, false)),
-                                                (String ((Ascii (false, true,
-                                                false, false, true, true,
-                                                true, false)), (String
-                                                ((Ascii (true, false, false,
-                                                false, false, true, true,
-                                                false)), (String ((Ascii
-                                                (true, true, false, false,
-                                                false, true, true, false)),
-                                                (String ((Ascii (true, false,
-                                                true, false, false, true,
-                                                true, false)),
-                                                EmptyString))))))))))))))))))))))))))
-                                                ((String ((Ascii (true, true,
-                                                false, false, true, true,
-                                                true, false)), (String
-                                                ((Ascii (false, false, true,
-                                                false, true, true, true,
-                                                false)), (String ((Ascii
-                                                (false, true, false, false,
-                                                true, true, true, false)),
-                                                (String ((Ascii (true, false,
-                                                false, true, false, true,
-                                                true, false)), (String
-                                                ((Ascii (false, true, true,
-                                                true, false, true, true,
-                                                false)), (String ((Ascii
-                                                (true, true, true, false,
-                                                false, true, true, false)),
-                                                (String ((Ascii (true, true,
-                                                false, false, true, true,
-                                                true, false)), (String
-                                                ((Ascii (false, true, true,
-                                                true, false, true, false,
-                                                false)), (String ((Ascii
-                                                (false, false, true, false,
-                                                true, false, true, false)),
-                                                (String ((Ascii (false, true,
-                                                false, false, true, true,
-                                                true, false)), (String
-                                                ((Ascii (true, false, false,
-                                                true, false, true, true,
-                                                false)), (String ((Ascii
-                                                (true, false, true, true,
-                                                false, true, true, false)),
-                                                (String ((Ascii (true, true,
-                                                false, false, true, false,
-                                                true, false)), (String
-                                                ((Ascii (false, false, false,
-                                                false, true, true, true,
-                                                false)), (String ((Ascii
-                                                (true, false, false, false,
-                                                false, true, true, false)),
-                                                (String ((Ascii (true, true,
-                                                false, false, false, true,
-                                                true, false)), (String
-                                                ((Ascii (true, false, true,
-                                                false, false, true, true,
-                                                false)),
-                                                EmptyString)))))))))))))))))))))))))))))))))) :: [])) :: (
-    (mkcut (S (S (S (S (S (S (S (S (S (S (S (S (S (S (S (S (S (S (S (S (S
-      O))))))))))))))))))))) (S (S (S (S (S (S (S (S (S (S (S (S (S (S (S (S
-      (S (S (S (S (S (S (S (S (S (S (S O)))))))))))))))))))))))))))
-      EmptyString []) :: ((mkcut (S (S (S (S (S (S (S (S (S (S (S (S (S (S (S
-                            (S (S (S (S (S (S (S (S (S (S (S (S
-                            O))))))))))))))))))))))))))) (S (S (S (S (S (S (S
-                            (S (S (S (S (S (S (S (S (S (S (S (S (S (S (S (S
-                            (S (S (S (S (S (S (S (S (S (S (S (S
-                            O))))))))))))))))))))))))))))))))))) (String
-                            ((Ascii (true, true, true, true, false, false,
-                            true, false)), (String ((Ascii (false, true,
-                            false, false, true, true, true, false)), (String
-                            ((Ascii (true, false, false, true, false, true,
-                            true, false)), (String ((Ascii (true, true, true,
-                            false, false, true, true, false)), (String
-                            ((Ascii (true, false, false, true, false, true,
-                            true, false)), (String ((Ascii (false, true,
-                            true, true, false, true, true, false)), (String
-                            ((Ascii (true, false, false, false, false, true,
-                            true, false)), (String ((Ascii (false, false,
-                            true, true, false, true, true, false)), (String
-                            ((Ascii (false, false, true, false, false, false,
-                            true, false)), (String ((Ascii (false, true,
-                            true, false, false, false, true, false)), (String
-                            ((Ascii (true, false, false, true, false, false,
-                            true, false)), EmptyString))))))))))))))))))))))
-                            ((String ((Ascii (false, false, false, false,
-                            true, true, true, false)), (String ((Ascii (true,
-                            false, false, false, false, true, true, false)),
-                            (String ((Ascii (false, true, false, false, true,
-                            true, true, false)), (String ((Ascii (true, true,
-                            false, false, true, true, true, false)), (String
-                            ((Ascii (true, false, true, false, false, true,
-                            true, false)), (String ((Ascii (true, true,
-                            false, false, true, false, true, false)), (String
-                            ((Ascii (false, false, true, false, true, true,
-                            true, false)), (String ((Ascii (false, true,
-                            false, false, true, true, true, false)), (String
-                            ((Ascii (true, false, false, true, false, true,
-                            true, false)), (String ((Ascii (false, true,
-                            true, true, false, true, true, false)), (String
-                            ((Ascii (true, true, true, false, false, true,
-                            true, false)), (String ((Ascii (false, true,
-                            true, false, false, false, true, false)), (String
-                            ((Ascii (true, false, false, true, false, true,
-                            true, false)), (String ((Ascii (true, false,
-                            true, false, false, true, true, false)), (String
-                            ((Ascii (false, false, true, true, false, true,
-                            true, false)), (String ((Ascii (false, false,
-                            true, false, false, true, true, false)),
-                            EmptyString)))))))))))))))))))))))))))))))) :: [])) :: (
-    (mkcut (S (S (S (S (S (S (S (S (S (S (S (S (S (S (S (S (S (S (S (S (S (S
-      (S (S (S (S (S (S (S (S (S (S (S (S (S
-      O))))))))))))))))))))))))))))))))))) (S (S (S (S (S (S (S (S (S (S (S
-      (S (S (S (S (S (S (S (S (S (S (S (S (S (S (S (S (S (S (S (S (S (S (S (S
-      (S (S (S (S (S (S (S (S (S (S (S (S (S (S (S (S (S (S (S (S (S (S (S (S
-      (S (S (S (S (S
-      O))))))))))))))))))))))))))))))))))))))))))))))))))))))))))))))))
-      (String ((Ascii (true, true, false, false, false, false, true, false)),
-      (String ((Ascii (true, true, true, true, false, true, true, false)),
-      (String ((Ascii (false, true, false, false, true, true, true, false)),
-      (String ((Ascii (false, true, false, false, true, true, true, false)),
-      (String ((Ascii (true, false, true, false, false, true, true, false)),
-      (String ((Ascii (true, true, false, false, false, true, true, false)),
-      (String ((Ascii (false, false, true, false, true, true, true, false)),
-      (String ((Ascii (true, false, true, false, false, true, true, false)),
-      (String ((Ascii (false, false, true, false, false, true, true, false)),
-      (String ((Ascii (false, false, true, false, false, false, true,
-      false)), (String ((Ascii (true, false, false, false, false, true, true,
-      false)), (String ((Ascii (false, false, true, false, true, true, true,
-      false)), (String ((Ascii (true, false, false, false, false, true, true,
-      false)), EmptyString)))))))))))))))))))))))))) ((String ((Ascii (true,
-      true, false, false, true, true, true, false)), (String ((Ascii (false,
-      false, true, false, true, true, true, false)), (String ((Ascii (false,
-      true, false, false, true, true, true, false)), (String ((Ascii (true,
-      false, false, true, false, true, true, false)), (String ((Ascii (false,
-      true, true, true, false, true, true, false)), (String ((Ascii (true,
-      true, true, false, false, true, true, false)), (String ((Ascii (true,
-      true, false, false, true, true, true, false)), (String ((Ascii (false,
-      true, true, true, false, true, false, false)), (String ((Ascii (false,
-      false, true, false, true, false, true, false)), (String ((Ascii (false,
-      true, false, false, true, true, true, false)), (String ((Ascii (true,
-      false, false, true, false, true, true, false)), (String ((Ascii (true,
-      false, true, true, false, true, true, false)), (String ((Ascii (true,
-      true, false, false, true, false, true, false)), (String ((Ascii (false,
-      false, false, false, true, true, true, false)), (String ((Ascii (true,
-      false, false, false, false, true, true, false)), (String ((Ascii (true,
-      true, false, false, false, true, true, false)), (String ((Ascii (true,
-      false, true, false, false, true, true, false)),
-      EmptyString)))))))))))))))))))))))))))))))))) :: [])) :: ((mkcut (S (S
-                                                                  (S (S (S (S
-                                                                  (S (S (S (S
-                                                                  (S (S (S (S
-                                                                  (S (S (S (S
-                                                                  (S (S (S (S
-                                                                  (S (S (S (S
-                                                                  (S (S (S (S
-                                                                  (S (S (S (S
-                                                                  (S (S (S (S
-                                                                  (S (S (S (S
-                                                                  (S (S (S (S
-                                                                  (S (S (S (S
-                                                                  (S (S (S (S
-                                                                  (S (S (S (S
-                                                                  (S (S (S (S
-                                                                  (S (S
-                                                                  O))))))))))))))))))))))))))))))))))))))))))))))))))))))))))))))))
-                                                                  (S (S (S (S
-                                                                  (S (S (S (S
-                                                                  (S (S (S (S
-                                                                  (S (S (S (S
-                                                                  (S (S (S (S
-                                                                  (S (S (S (S
-                                                                  (S (S (S (S
-                                                                  (S (S (S (S
-                                                                  (S (S (S (S
-                                                                  (S (S (S (S
-                                                                  (S (S (S (S
-                                                                  (S (S (S (S
-                                                                  (S (S (S (S
-                                                                  (S (S (S (S
-                                                                  (S (S (S (S
-                                                                  (S (S (S (S
-                                                                  (S (S (S (S
-                                                                  (S (S
-                                                                  O))))))))))))))))))))))))))))))))))))))))))))))))))))))))))))))))))))))
-                                                                  (String
-                                                                  ((Ascii
-                                                                  (true,
-                                                                  false,
-                                                                  false,
-                                                                  true,
-                                                                  false,
-                                                                  true, true,
-                                                                  false)),
-                                                                  (String
-                                                                  ((Ascii
-                                                                  (true,
-                                                                  false,
-                                                                  false,
-                                                                  false,
-                                                                  false,
-                                                                  true, true,
-                                                                  false)),
-                                                                  (String
-                                                                  ((Ascii
-                                                                  (false,
-                                                                  false,
-                                                                  true,
-                                                                  false,
-                                                                  true, true,
-                                                                  true,
-                                                                  false)),
-                                                                  (String
-                                                                  ((Ascii
-                                                                  (true,
-                                                                  true,
-                                                                  false,
-                                                                  false,
-                                                                  false,
-                                                                  false,
-                                                                  true,
-                                                                  false)),
-                                                                  (String
-                                                                  ((Ascii
-                                                                  (true,
-                                                                  true, true,
-                                                                  true,
-                                                                  false,
-                                                                  true, true,
-                                                                  false)),
-                                                                  (String
-                                                                  ((Ascii
-                                                                  (false,
-                                                                  true,
-                                                                  false,
-                                                                  false,
-                                                                  true, true,
-                                                                  true,
-                                                                  false)),
-                                                                  (String
-                                                                  ((Ascii
-                                                                  (false,
-                                                                  true,
-                                                                  false,
-                                                                  false,
-                                                                  true, true,
-                                                                  true,
-                                                                  false)),
-                                                                  (String
-                                                                  ((Ascii
-                                                                  (true,
-                                                                  false,
-                                                                  true,
-                                                                  false,
-                                                                  false,
-                                                                  true, true,
-                                                                  false)),
-                                                                  (String
-                                                                  ((Ascii
-                                                                  (true,
-                                                                  true,
-                                                                  false,
-                                                                  false,
-                                                                  false,
-                                                                  true, true,
-                                                                  false)),
-                                                                  (String
-                                                                  ((Ascii
-                                                                  (false,
-                                                                  false,
-                                                                  true,
-                                                                  false,
-                                                                  true, true,
-                                                                  true,
-                                                                  false)),
-                                                                  (String
-                                                                  ((Ascii
-                                                                  (true,
-                                                                  false,
-                                                                  true,
-                                                                  false,
-                                                                  false,
-                                                                  true, true,
-                                                                  false)),
-                                                                  (String
-                                                                  ((Ascii
-                                                                  (false,
-                                                                  false,
-                                                                  true,
-                                                                  false,
-                                                                  false,
-                                                                  true, true,
-                                                                  false)),
-                                                                  (String
-                                                                  ((Ascii
-                                                                  (false,
-                                                                  false,
-                                                                  true,
-                                                                  false,
-                                                                  false,
-                                                                  false,
-                                                                  true,
-                                                                  false)),
-                                                                  (String
-                                                                  ((Ascii
-                                                                  (true,
-                                                                  false,
-                                                                  false,
-                                                                  false,
-                                                                  false,
-                                                                  true, true,
-                                                                  false)),
-                                                                  (String
-                                                                  ((Ascii
-                                                                  (false,
-                                                                  false,
-                                                                  true,
-                                                                  false,
-                                                                  true, true,
-                                                                  true,
-                                                                  false)),
-                                                                  (String
-                                                                  ((Ascii
-                                                                  (true,
-                                                                  false,
-                                                                  false,
-                                                                  false,
-                                                                  false,
-                                                                  true, true,
-                                                                  false)),
-                                                                  EmptyString))))))))))))))))))))))))))))))))
-                                                                  ((String
-                                                                  ((Ascii
-                                                                  (true,
-                                                                  true,
-                                                                  false,
-                                                                  false,
-                                                                  true, true,
-                                                                  true,
-                                                                  false)),
-                                                                  (String
-                                                                  ((Ascii
-                                                                  (false,
-                                                                  false,
-                                                                  true,
-                                                                  false,
-                                                                  true, true,
-                                                                  true,
-                                                                  false)),
-                                                                  (String
-                                                                  ((Ascii
-                                                                  (false,
-                                                                  true,
-                                                                  false,
-                                                                  false,
-                                                                  true, true,
-                                                                  true,
-                                                                  false)),
-                                                                  (String
-                                                                  ((Ascii
-                                                                  (true,
-                                                                  false,
-                                                                  false,
-                                                                  true,
-                                                                  false,
-                                                                  true, true,
-                                                                  false)),
-                                                                  (String
-                                                                  ((Ascii
-                                                                  (false,
-                                                                  true, true,
-                                                                  true,
-                                                                  false,
-                                                                  true, true,
-                                                                  false)),
-                                                                  (String
-                                                                  ((Ascii
-                                                                  (true,
-                                                                  true, true,
-                                                                  false,
-                                                                  false,
-                                                                  true, true,
-                                                                  false)),
-                                                                  (String
-                                                                  ((Ascii
-                                                                  (true,
-                                                                  true,
-                                                                  false,
-                                                                  false,
-                                                                  true, true,
-                                                                  true,
-                                                                  false)),
-                                                                  (String
-                                                                  ((Ascii
-                                                                  (false,
-                                                                  true, true,
-                                                                  true,
-                                                                  false,
-                                                                  true,
-                                                                  false,
-                                                                  false)),
-                                                                  (String
-                                                                  ((Ascii
-                                                                  (false,
-                                                                  false,
-                                                                  true,
-                                                                  false,
-                                                                  true,
-                                                                  false,
-                                                                  true,
-                                                                  false)),
-                                                                  (String
-                                                                  ((Ascii
-                                                                  (false,
-                                                                  true,
-                                                                  false,
-                                                                  false,
-                                                                  true, true,
-                                                                  true,
-                                                                  false)),
-                                                                  (String
-                                                                  ((Ascii
-                                                                  (true,
-                                                                  false,
-                                                                  false,
-                                                                  true,
-                                                                  false,
-                                                                  true, true,
-                                                                  false)),
-                                                                  (String
-                                                                  ((Ascii
-                                                                  (true,
-                                                                  false,
-                                                                  true, true,
-                                                                  false,
-                                                                  true, true,
-                                                                  false)),
-                                                                  (String
-                                                                  ((Ascii
-                                                                  (true,
-                                                                  true,
-                                                                  false,
-                                                                  false,
-                                                                  true,
-                                                                  false,
-                                                                  true,
-                                                                  false)),
-                                                                  (String
-                                                                  ((Ascii
-                                                                  (false,
-                                                                  false,
-                                                                  false,
-                                                                  false,
-                                                                  true, true,
-                                                                  true,
-                                                                  false)),
-                                                                  (String
-                                                                  ((Ascii
-                                                                  (true,
-                                                                  false,
-                                                                  false,
-                                                                  false,
-                                                                  false,
-                                                                  true, true,
-                                                                  false)),
-                                                                  (String
-                                                                  ((Ascii
-                                                                  (true,
-                                                                  true,
-                                                                  false,
-                                                                  false,
-                                                                  false,
-                                                                  true, true,
-                                                                  false)),
-                                                                  (String
-                                                                  ((Ascii
-                                                                  (true,
-                                                                  false,
-                                                                  true,
-                                                                  false,
-                                                                  false,
-                                                                  true, true,
-                                                                  false)),
-                                                                  EmptyString)))))))))))))))))))))))))))))))))) :: [])) :: (
-    (mkcut (S (S (S (S (S (S (S (S (S (S (S (S (S (S (S (S (S (S (S (S (S (S
-      (S (S (S (S (S (S (S (S (S (S (S (S (S (S (S (S (S (S (S (S (S (S (S (S
-      (S (S (S (S (S (S (S (S (S (S (S (S (S (S (S (S (S (S (S (S (S (S (S (S
-      O))))))))))))))))))))))))))))))))))))))))))))))))))))))))))))))))))))))
-      (S (S (S (S (S (S (S (S (S (S (S (S (S (S (S (S (S (S (S (S (S (S (S (S
-      (S (S (S (S (S (S (S (S (S (S (S (S (S (S (S (S (S (S (S (S (S (S (S (S
-      (S (S (S (S (S (S (S (S (S (S (S (S (S (S (S (S (S (S (S (S (S (S (S (S
-      (S (S (S (S (S (S (S
-      O)))))))))))))))))))))))))))))))))))))))))))))))))))))))))))))))))))))))))))))))
-      EmptyString []) :: ((mkcut (S (S (S (S (S (S (S (S (S (S (S (S (S (S (S
-                            (S (S (S (S (S (S (S (S (S (S (S (S (S (S (S (S
-                            (S (S (S (S (S (S (S (S (S (S (S (S (S (S (S (S
-                            (S (S (S (S (S (S (S (S (S (S (S (S (S (S (S (S
-                            (S (S (S (S (S (S (S (S (S (S (S (S (S (S (S (S
-                            O)))))))))))))))))))))))))))))))))))))))))))))))))))))))))))))))))))))))))))))))
-                            (S (S (S (S (S (S (S (S (S (S (S (S (S (S (S (S
-                            (S (S (S (S (S (S (S (S (S (S (S (S (S (S (S (S
-                            (S (S (S (S (S (S (S (S (S (S (S (S (S (S (S (S
-                            (S (S (S (S (S (S (S (S (S (S (S (S (S (S (S (S
-                            (S (S (S (S (S (S (S (S (S (S (S (S (S (S (S (S
-                            (S (S (S (S (S (S (S (S (S (S (S (S (S (S
-                            O))))))))))))))))))))))))))))))))))))))))))))))))))))))))))))))))))))))))))))))))))))))))))))))
-                            (String ((Ascii (false, false, true, false, true,
-                            false, true, false)), (String ((Ascii (false,
-                            true, false, false, true, true, true, false)),
-                            (String ((Ascii (true, false, false, false,
-                            false, true, true, false)), (String ((Ascii
-                            (true, true, false, false, false, true, true,
-                            false)), (String ((Ascii (true, false, true,
-                            false, false, true, true, false)), (String
-                            ((Ascii (false, true, true, true, false, false,
-                            true, false)), (String ((Ascii (true, false,
-                            true, false, true, true, true, false)), (String
-                            ((Ascii (true, false, true, true, false, true,
-                            true, false)), (String ((Ascii (false, true,
-                            false, false, false, true, true, false)), (String
-                            ((Ascii (true, false, true, false, false, true,
-                            true, false)), (String ((Ascii (false, true,
-                            false, false, true, true, true, false)),
-                            EmptyString)))))))))))))))))))))) ((String
-                            ((Ascii (true, true, false, false, true, true,
-                            true, false)), (String ((Ascii (false, false,
-                            true, false, true, true, true, false)), (String
-                            ((Ascii (false, true, false, false, true, true,
-                            true, false)), (String ((Ascii (true, false,
-                            false, true, false, true, true, false)), (String
-                            ((Ascii (false, true, true, true, false, true,
-                            true, false)), (String ((Ascii (true, true, true,
-                            false, false, true, true, false)), (String
-                            ((Ascii (true, true, false, false, true, true,
-                            true, false)), (String ((Ascii (false, true,
-                            true, true, false, true, false, false)), (String
-                            ((Ascii (false, false, true, false, true, false,
-                            true, false)), (String ((Ascii (false, true,
-                            false, false, true, true, true, false)), (String
-                            ((Ascii (true, false, false, true, false, true,
-                            true, false)), (String ((Ascii (true, false,
-                            true, true, false, true, true, false)), (String
-                            ((Ascii (true, true, false, false, true, false,
-                            true, false)), (String ((Ascii (false, false,
-                            false, false, true, true, true, false)), (String
-                            ((Ascii (true, false, false, false, false, true,
-                            true, false)), (String ((Ascii (true, true,
-                            false, false, false, true, true, false)), (String
-                            ((Ascii (true, false, true, false, false, true,
-                            true, false)),
-                            EmptyString)))))))))))))))))))))))))))))))))) :: [])) :: [])))))))))) }
+type source = { src_chunks : bytes list; src_term : term }
 
-(** val l_Addenda98Refused : layout **)
+(** val read_full :
+    n -> bytes list -> bytes -> (bytes * bytes list) * bool **)
 
-let l_Addenda98Refused =
-  { l_name = (String ((Ascii (true, false, false, false, false, false, true,
-    false)), (String ((Ascii (false, false, true, false, false, true, true,
-    false)), (String ((Ascii (false, false, true, false, false, true, true,
-    false)), (String ((Ascii (true, false, true, false, false, true, true,
-    false)), (String ((Ascii (false, true, true, true, false, true, true,
-    false)), (String ((Ascii (false, false, true, false, false, true, true,
-    false)), (String ((Ascii (true, false, false, false, false, true, true,
-    false)), (String ((Ascii (true, false, false, true, true, true, false,
-    false)), (String ((Ascii (false, false, false, true, true, true, false,
-    false)), (String ((Ascii (false, true, false, false, true, false, true,
-    false)), (String ((Ascii (true, false, true, false, false, true, true,
-    false)), (String ((Ascii (false, true, true, false, false, true, true,
-    false)), (String ((Ascii (true, false, true, false, true, true, true,
-    false)), (String ((Ascii (true, true, false, false, true, true, true,
-    false)), (String ((Ascii (true, false, true, false, false, true, true,
-    false)), (String ((Ascii (false, false, true, false, false, true, true,
-    false)), EmptyString)))))))))))))))))))))))))))))))); l_ix = IRune;
-    l_segs = ((SLit ((Npos (XI (XI (XI (XO (XI XH)))))) :: [])) :: ((SRaw
-    (String ((Ascii (false, false, true, false, true, false, true, false)),
-    (String ((Ascii (true, false, false, true, true, true, true, false)),
-    (String ((Ascii (false, false, false, false, true, true, true, false)),
-    (String ((Ascii (true, false, true, false, false, true, true, false)),
-    (String ((Ascii (true, true, false, false, false, false, true, false)),
-    (String ((Ascii (true, true, true, true, false, true, true, false)),
-    (String ((Ascii (false, false, true, false, false, true, true, false)),
-    (String ((Ascii (true, false, true, false, false, true, true, false)),
-    EmptyString))))))))))))))))) :: ((SRaw (String ((Ascii (false, true,
-    false, false, true, false, true, false)), (String ((Ascii (true, false,
-    true, false, false, true, true, false)), (String ((Ascii (false, true,
-    true, false, false, true, true, false)), (String ((Ascii (true, false,
-    true, false, true, true, true, false)), (String ((Ascii (true, true,
-    false, false, true, true, true, false)), (String ((Ascii (true, false,
-    true, false, false, true, true, false)), (String ((Ascii (false, false,
-    true, false, false, true, true, false)), (String ((Ascii (true, true,
-    false, false, false, false, true, false)), (String ((Ascii (false, false,
-    false, true, false, true, true, false)), (String ((Ascii (true, false,
-    false, false, false, true, true, false)), (String ((Ascii (false, true,
-    true, true, false, true, true, false)), (String ((Ascii (true, true,
-    true, false, false, true, true, false)), (String ((Ascii (true, false,
-    true, false, false, true, true, false)), (String ((Ascii (true, true,
-    false, false, false, false, true, false)), (String ((Ascii (true, true,
-    true, true, false, true, true, false)), (String ((Ascii (false, false,
-    true, false, false, true, true, false)), (String ((Ascii (true, false,
-    true, false, false, true, true, false)),
-    EmptyString))))))))))))))))))))))))))))))))))) :: ((SStr ((String ((Ascii
-    (true, true, true, true, false, false, true, false)), (String ((Ascii
-    (false, true, false, false, true, true, true, false)), (String ((Ascii
-    (true, false, false, true, false, true, true, false)), (String ((Ascii
-    (true, true, true, false, false, true, true, false)), (String ((Ascii
-    (true, false, false, true, false, true, true, false)), (String ((Ascii
-    (false, true, true, true, false, true, true, false)), (String ((Ascii
-    (true, false, false, false, false, true, true, false)), (String ((Ascii
-    (false, false, true, true, false, true, true, false)), (String ((Ascii
-    (false, false, true, false, true, false, true, false)), (String ((Ascii
-    (false, true, false, false, true, true, true, false)), (String ((Ascii
-    (true, false, false, false, false, true, true, false)), (String ((Ascii
-    (true, true, false, false, false, true, true, false)), (String ((Ascii
-    (true, false, true, false, false, true, true, false)),
-    EmptyString)))))))))))))))))))))))))), (S (S (S (S (S (S (S (S (S (S (S
-    (S (S (S (S O))))))))))))))))) :: ((SLit ((Npos (XO (XO (XO (XO (XO
-    XH)))))) :: ((Npos (XO (XO (XO (XO (XO XH)))))) :: ((Npos (XO (XO (XO (XO
-    (XO XH)))))) :: ((Npos (XO (XO (XO (XO (XO XH)))))) :: ((Npos (XO (XO (XO
-    (XO (XO XH)))))) :: ((Npos (XO (XO (XO (XO (XO
-    XH)))))) :: []))))))) :: ((SStr ((String ((Ascii (true, true, true, true,
-    false, false, true, false)), (String ((Ascii (false, true, false, false,
-    true, true, true, false)), (String ((Ascii (true, false, false, true,
-    false, true, true, false)), (String ((Ascii (true, true, true, false,
-    false, true, true, false)), (String ((Ascii (true, false, false, true,
-    false, true, true, false)), (String ((Ascii (false, true, true, true,
-    false, true, true, false)), (String ((Ascii (true, false, false, false,
-    false, true, true, false)), (String ((Ascii (false, false, true, true,
-    false, true, true, false)), (String ((Ascii (false, false, true, false,
-    false, false, true, false)), (String ((Ascii (false, true, true, false,
-    false, false, true, false)), (String ((Ascii (true, false, false, true,
-    false, false, true, false)), EmptyString)))))))))))))))))))))), (S (S (S
-    (S (S (S (S (S O)))))))))) :: ((SAlpha ((String ((Ascii (true, true,
-    false, false, false, false, true, false)), (String ((Ascii (true, true,
-    true, true, false, true, true, false)), (String ((Ascii (false, true,
-    false, false, true, true, true, false)), (String ((Ascii (false, true,
-    false, false, true, true, true, false)), (String ((Ascii (true, false,
-    true, false, false, true, true, false)), (String ((Ascii (true, true,
-    false, false, false, true, true, false)), (String ((Ascii (false, false,
-    true, false, true, true, true, false)), (String ((Ascii (true, false,
-    true, false, false, true, true, false)), (String ((Ascii (false, false,
-    true, false, false, true, true, false)), (String ((Ascii (false, false,
-    true, false, false, false, true, false)), (String ((Ascii (true, false,
-    false, false, false, true, true, false)), (String ((Ascii (false, false,
-    true, false, true, true, true, false)), (String ((Ascii (true, false,
-    false, false, false, true, true, false)),
-    EmptyString)))))))))))))))))))))))))), (S (S (S (S (S (S (S (S (S (S (S
-    (S (S (S (S (S (S (S (S (S (S (S (S (S (S (S (S (S (S
-    O))))))))))))))))))))))))))))))) :: ((SRaw (String ((Ascii (true, true,
-    false, false, false, false, true, false)), (String ((Ascii (false, false,
-    false, true, false, true, true, false)), (String ((Ascii (true, false,
-    false, false, false, true, true, false)), (String ((Ascii (false, true,
-    true, true, false, true, true, false)), (String ((Ascii (true, true,
-    true, false, false, true, true, false)), (String ((Ascii (true, false,
-    true, false, false, true, true, false)), (String ((Ascii (true, true,
-    false, false, false, false, true, false)), (String ((Ascii (true, true,
-    true, true, false, true, true, false)), (String ((Ascii (false, false,
-    true, false, false, true, true, false)), (String ((Ascii (true, false,
-    true, false, false, true, true, false)),
-    EmptyString))))))))))))))))))))) :: ((SStr ((String ((Ascii (false,
-    false, true, false, true, false, true, false)), (String ((Ascii (false,
-    true, false, false, true, true, true, false)), (String ((Ascii (true,
-    false, false, false, false, true, true, false)), (String ((Ascii (true,
-    true, false, false, false, true, true, false)), (String ((Ascii (true,
-    false, true, false, false, true, true, false)), (String ((Ascii (true,
-    true, false, false, true, false, true, false)), (String ((Ascii (true,
-    false, true, false, false, true, true, false)), (String ((Ascii (true,
-    false, false, false, true, true, true, false)), (String ((Ascii (true,
-    false, true, false, true, true, true, false)), (String ((Ascii (true,
-    false, true, false, false, true, true, false)), (String ((Ascii (false,
-    true, true, true, false, true, true, false)), (String ((Ascii (true,
-    true, false, false, false, true, true, false)), (String ((Ascii (true,
-    false, true, false, false, true, true, false)), (String ((Ascii (false,
-    true, true, true, false, false, true, false)), (String ((Ascii (true,
-    false, true, false, true, true, true, false)), (String ((Ascii (true,
-    false, true, true, false, true, true, false)), (String ((Ascii (false,
-    true, false, false, false, true, true, false)), (String ((Ascii (true,
-    false, true, false, false, true, true, false)), (String ((Ascii (false,
-    true, false, false, true, true, true, false)),
-    EmptyString)))))))))))))))))))))))))))))))))))))), (S (S (S (S (S (S (S
-    O))))))))) :: ((SLit ((Npos (XO (XO (XO (XO (XO XH)))))) :: ((Npos (XO
-    (XO (XO (XO (XO XH)))))) :: ((Npos (XO (XO (XO (XO (XO XH)))))) :: ((Npos
-    (XO (XO (XO (XO (XO XH)))))) :: ((Npos (XO (XO (XO (XO (XO
-    XH)))))) :: [])))))) :: ((SStr ((String ((Ascii (false, false, true,
-    false, true, false, true, false)), (String ((Ascii (false, true, false,
-    false, true, true, true, false)), (String ((Ascii (true, false, false,
-    false, false, true, true, false)), (String ((Ascii (true, true, false,
-    false, false, true, true, false)), (String ((Ascii (true, false, true,
-    false, false, true, true, false)), (String ((Ascii (false, true, true,
-    true, false, false, true, false)), (String ((Ascii (true, false, true,
-    false, true, true, true, false)), (String ((Ascii (true, false, true,
-    true, false, true, true, false)), (String ((Ascii (false, true, false,
-    false, false, true, true, false)), (String ((Ascii (true, false, true,
-    false, false, true, true, false)), (String ((Ascii (false, true, false,
-    false, true, true, true, false)), EmptyString)))))))))))))))))))))), (S
-    (S (S (S (S (S (S (S (S (S (S (S (S (S (S
-    O))))))))))))))))) :: []))))))))))); l_cuts =
-    ((mkcut O (S O) EmptyString []) :: ((mkcut (S O) (S (S (S O))) (String
-                                          ((Ascii (false, false, true, false,
-                                          true, false, true, false)), (String
-                                          ((Ascii (true, false, false, true,
-                                          true, true, true, false)), (String
-                                          ((Ascii (false, false, false,
-                                          false, true, true, true, false)),
-                                          (String ((Ascii (true, false, true,
-                                          false, false, true, true, false)),
-                                          (String ((Ascii (true, true, false,
-                                          false, false, false, true, false)),
-                                          (String ((Ascii (true, true, true,
-                                          true, false, true, true, false)),
-                                          (String ((Ascii (false, false,
-                                          true, false, false, true, true,
-                                          false)), (String ((Ascii (true,
-                                          false, true, false, false, true,
-                                          true, false)),
-                                          EmptyString))))))))))))))))
-                                          ((String ((Ascii (true, true,
-                                          false, false, true, true, true,
-                                          false)), (String ((Ascii (false,
-                                          false, true, false, true, true,
-                                          true, false)), (String ((Ascii
-                                          (false, true, false, false, true,
-                                          true, true, false)), (String
-                                          ((Ascii (true, false, false, true,
-                                          false, true, true, false)), (String
-                                          ((Ascii (false, true, true, true,
-                                          false, true, true, false)), (String
-                                          ((Ascii (true, true, true, false,
-                                          false, true, true, false)), (String
-                                          ((Ascii (true, true, false, false,
-                                          true, true, true, false)), (String
-                                          ((Ascii (false, true, true, true,
-                                          false, true, false, false)),
-                                          (String ((Ascii (false, false,
-                                          true, false, true, false, true,
-                                          false)), (String ((Ascii (false,
-                                          true, false, false, true, true,
-                                          true, false)), (String ((Ascii
-                                          (true, false, false, true, false,
-                                          true, true, false)), (String
-                                          ((Ascii (true, false, true, true,
-                                          false, true, true, false)), (String
-                                          ((Ascii (true, true, false, false,
-                                          true, false, true, false)), (String
-                                          ((Ascii (false, false, false,
-                                          false, true, true, true, false)),
-                                          (String ((Ascii (true, false,
-                                          false, false, false, true, true,
-                                          false)), (String ((Ascii (true,
-                                          true, false, false, false, true,
-                                          true, false)), (String ((Ascii
-                                          (true, false, true, false, false,
-                                          true, true, false)),
-                                          EmptyString)))))))))))))))))))))))))))))))))) :: [])) :: (
-    (mkcut (S (S (S O))) (S (S (S (S (S (S O)))))) (String ((Ascii (false,
-      true, false, false, true, false, true, false)), (String ((Ascii (true,
-      false, true, false, false, true, true, false)), (String ((Ascii (false,
-      true, true, false, false, true, true, false)), (String ((Ascii (true,
-      false, true, false, true, true, true, false)), (String ((Ascii (true,
-      true, false, false, true, true, true, false)), (String ((Ascii (true,
-      false, true, false, false, true, true, false)), (String ((Ascii (false,
-      false, true, false, false, true, true, false)), (String ((Ascii (true,
-      true, false, false, false, false, true, false)), (String ((Ascii
-      (false, false, false, true, false, true, true, false)), (String ((Ascii
-      (true, false, false, false, false, true, true, false)), (String ((Ascii
-      (false, true, true, true, false, true, true, false)), (String ((Ascii
-      (true, true, true, false, false, true, true, false)), (String ((Ascii
-      (true, false, true, false, false, true, true, false)), (String ((Ascii
-      (true, true, false, false, false, false, true, false)), (String ((Ascii
-      (true, true, true, true, false, true, true, false)), (String ((Ascii
-      (false, false, true, false, false, true, true, false)), (String ((Ascii
-      (true, false, true, false, false, true, true, false)),
-      EmptyString)))))))))))))))))))))))))))))))))) ((String ((Ascii (true,
-      true, false, false, true, true, true, false)), (String ((Ascii (false,
-      false, true, false, true, true, true, false)), (String ((Ascii (false,
-      true, false, false, true, true, true, false)), (String ((Ascii (true,
-      false, false, true, false, true, true, false)), (String ((Ascii (false,
-      true, true, true, false, true, true, false)), (String ((Ascii (true,
-      true, true, false, false, true, true, false)), (String ((Ascii (true,
-      true, false, false, true, true, true, false)), (String ((Ascii (false,
-      true, true, true, false, true, false, false)), (String ((Ascii (false,
-      false, true, false, true, false, true, false)), (String ((Ascii (false,
-      true, false, false, true, true, true, false)), (String ((Ascii (true,
-      false, false, true, false, true, true, false)), (String ((Ascii (true,
-      false, true, true, false, true, true, false)), (String ((Ascii (true,
-      true, false, false, true, false, true, false)), (String ((Ascii (false,
-      false, false, false, true, true, true, false)), (String ((Ascii (true,
-      false, false, false, false, true, true, false)), (String ((Ascii (true,
-      true, false, false, false, true, true, false)), (String ((Ascii (true,
-      false, true, false, false, true, true, false)),
-      EmptyString)))))))))))))))))))))))))))))))))) :: [])) :: ((mkcut (S (S
-                                                                  (S (S (S (S
-                                                                  O)))))) (S
-                                                                  (S (S (S (S
-                                                                  (S (S (S (S
-                                                                  (S (S (S (S
-                                                                  (S (S (S (S
-                                                                  (S (S (S (S
-                                                                  O)))))))))))))))))))))
-                                                                  (String
-                                                                  ((Ascii
-                                                                  (true,
-                                                                  true, true,
-                                                                  true,
-                                                                  false,
-                                                                  false,
-                                                                  true,
-                                                                  false)),
-                                                                  (String
-                                                                  ((Ascii
-                                                                  (false,
-                                                                  true,
-                                                                  false,
-                                                                  false,
-                                                                  true, true,
-                                                                  true,
-                                                                  false)),
-                                                                  (String
-                                                                  ((Ascii
-                                                                  (true,
-                                                                  false,
-                                                                  false,
-                                                                  true,
-                                                                  false,
-                                                                  true, true,
-                                                                  false)),
-                                                                  (String
-                                                                  ((Ascii
-                                                                  (true,
-                                                                  true, true,
-                                                                  false,
-                                                                  false,
-                                                                  true, true,
-                                                                  false)),
-                                                                  (String
-                                                                  ((Ascii
-                                                                  (true,
-                                                                  false,
-                                                                  false,
-                                                                  true,
-                                                                  false,
-                                                                  true, true,
-                                                                  false)),
-                                                                  (String
-                                                                  ((Ascii
-                                                                  (false,
-                                                                  true, true,
-                                                                  true,
-                                                                  false,
-                                                                  true, true,
-                                                                  false)),
-                                                                  (String
-                                                                  ((Ascii
-                                                                  (true,
-                                                                  false,
-                                                                  false,
-                                                                  false,
-                                                                  false,
-                                                                  true, true,
-                                                                  false)),
-                                                                  (String
-                                                                  ((Ascii
-                                                                  (false,
-                                                                  false,
-                                                                  true, true,
-                                                                  false,
-                                                                  true, true,
-                                                                  false)),
-                                                                  (String
-                                                                  ((Ascii
-                                                                  (false,
-                                                                  false,
-                                                                  true,
-                                                                  false,
-                                                                  true,
-                                                                  false,
-                                                                  true,
-                                                                  false)),
-                                                                  (String
-                                                                  ((Ascii
-                                                                  (false,
-                                                                  true,
-                                                                  false,
-                                                                  false,
-                                                                  true, true,
-                                                                  true,
-                                                                  false)),
-                                                                  (String
-                                                                  ((Ascii
-                                                                  (true,
-                                                                  false,
-                                                                  false,
-                                                                  false,
-                                                                  false,
-                                                                  true, true,
-                                                                  false)),
-                                                                  (String
-                                                                  ((Ascii
-                                                                  (true,
-                                                                  true,
-                                                                  false,
-                                                                  false,
-                                                                  false,
-                                                                  true, true,
-                                                                  false)),
-                                                                  (String
-                                                                  ((Ascii
-                                                                  (true,
-                                                                  false,
-                                                                  true,
-                                                                  false,
-                                                                  false,
-                                                                  true, true,
-                                                                  false)),
-                                                                  EmptyString))))))))))))))))))))))))))
-                                                                  ((String
-                                                                  ((Ascii
-                                                                  (true,
-                                                                  true,
-                                                                  false,
-                                                                  false,
-                                                                  true, true,
-                                                                  true,
-                                                                  false)),
-                                                                  (String
-                                                                  ((Ascii
-                                                                  (false,
-                                                                  false,
-                                                                  true,
-                                                                  false,
-                                                                  true, true,
-                                                                  true,
-                                                                  false)),
-                                                                  (String
-                                                                  ((Ascii
-                                                                  (false,
-                                                                  true,
-                                                                  false,
-                                                                  false,
-                                                                  true, true,
-                                                                  true,
-                                                                  false)),
-                                                                  (String
-                                                                  ((Ascii
-                                                                  (true,
-                                                                  false,
-                                                                  false,
-                                                                  true,
-                                                                  false,
-                                                                  true, true,
-                                                                  false)),
-                                                                  (String
-                                                                  ((Ascii
-                                                                  (false,
-                                                                  true, true,
-                                                                  true,
-                                                                  false,
-                                                                  true, true,
-                                                                  false)),
-                                                                  (String
-                                                                  ((Ascii
-                                                                  (true,
-                                                                  true, true,
-                                                                  false,
-                                                                  false,
-                                                                  true, true,
-                                                                  false)),
-                                                                  (String
-                                                                  ((Ascii
-                                                                  (true,
-                                                                  true,
-                                                                  false,
-                                                                  false,
-                                                                  true, true,
-                                                                  true,
-                                                                  false)),
-                                                                  (String
-                                                                  ((Ascii
-                                                                  (false,
-                                                                  true, true,
-                                                                  true,
-                                                                  false,
-                                                                  true,
-                                                                  false,
-                                                                  false)),
-                                                                  (String
-                                                                  ((Ascii
-                                                                  (false,
-                                                                  false,
-                                                                  true,
-                                                                  false,
-                                                                  true,
-                                                                  false,
-                                                                  true,
-                                                                  false)),
-                                                                  (String
-                                                                  ((Ascii
-                                                                  (false,
-                                                                  true,
-                                                                  false,
-                                                                  false,
-                                                                  true, true,
-                                                                  true,
-                                                                  false)),
-                                                                  (String
-                                                                  ((Ascii
-                                                                  (true,
-                                                                  false,
-                                                                  false,
-                                                                  true,
-                                                                  false,
-                                                                  true, true,
-                                                                  false)),
-                                                                  (String
-                                                                  ((Ascii
-                                                                  (true,
-                                                                  false,
-                                                                  true, true,
-                                                                  false,
-                                                                  true, true,
-                                                                  false)),
-                                                                  (String
-                                                                  ((Ascii
-                                                                  (true,
-                                                                  true,
-                                                                  false,
-                                                                  false,
-                                                                  true,
-                                                                  false,
-                                                                  true,
-                                                                  false)),
-                                                                  (String
-                                                                  ((Ascii
-                                                                  (false,
-                                                                  false,
-                                                                  false,
-                                                                  false,
-                                                                  true, true,
-                                                                  true,
-                                                                  false)),
-                                                                  (String
-                                                                  ((Ascii
-                                                                  (true,
-                                                                  false,
-                                                                  false,
-                                                                  false,
-                                                                  false,
-                                                                  true, true,
-                                                                  false)),
-                                                                  (String
-                                                                  ((Ascii
-                                                                  (true,
-                                                                  true,
-                                                                  false,
-                                                                  false,
-                                                                  false,
-                                                                  true, true,
-                                                                  false)),
-                                                                  (String
-                                                                  ((Ascii
-                                                                  (true,
-                                                                  false,
-                                                                  true,
-                                                                  false,
-                                                                  false,
-                                                                  true, true,
-                                                                  false)),
-                                                                  EmptyString)))))))))))))))))))))))))))))))))) :: [])) :: (
-    (mkcut (S (S (S (S (S (S (S (S (S (S (S (S (S (S (S (S (S (S (S (S (S
-      O))))))))))))))))))))) (S (S (S (S (S (S (S (S (S (S (S (S (S (S (S (S
-      (S (S (S (S (S (S (S (S (S (S (S O)))))))))))))))))))))))))))
-      EmptyString []) :: ((mkcut (S (S (S (S (S (S (S (S (S (S (S (S (S (S (S
-                            (S (S (S (S (S (S (S (S (S (S (S (S
-                            O))))))))))))))))))))))))))) (S (S (S (S (S (S (S
-                            (S (S (S (S (S (S (S (S (S (S (S (S (S (S (S (S
-                            (S (S (S (S (S (S (S (S (S (S (S (S
-                            O))))))))))))))))))))))))))))))))))) (String
-                            ((Ascii (true, true, true, true, false, false,
-                            true, false)), (String ((Ascii (false, true,
-                            false, false, true, true, true, false)), (String
-                            ((Ascii (true, false, false, true, false, true,
-                            true, false)), (String ((Ascii (true, true, true,
-                            false, false, true, true, false)), (String
-                            ((Ascii (true, false, false, true, false, true,
-                            true, false)), (String ((Ascii (false, true,
-                            true, true, false, true, true, false)), (String
-                            ((Ascii (true, false, false, false, false, true,
-                            true, false)), (String ((Ascii (false, false,
-                            true, true, false, true, true, false)), (String
-                            ((Ascii (false, false, true, false, false, false,
-                            true, false)), (String ((Ascii (false, true,
-                            true, false, false, false, true, false)), (String
-                            ((Ascii (true, false, false, true, false, false,
-                            true, false)), EmptyString))))))))))))))))))))))
-                            ((String ((Ascii (false, false, false, false,
-                            true, true, true, false)), (String ((Ascii (true,
-                            false, false, false, false, true, true, false)),
-                            (String ((Ascii (false, true, false, false, true,
-                            true, true, false)), (String ((Ascii (true, true,
-                            false, false, true, true, true, false)), (String
-                            ((Ascii (true, false, true, false, false, true,
-                            true, false)), (String ((Ascii (true, true,
-                            false, false, true, false, true, false)), (String
-                            ((Ascii (false, false, true, false, true, true,
-                            true, false)), (String ((Ascii (false, true,
-                            false, false, true, true, true, false)), (String
-                            ((Ascii (true, false, false, true, false, true,
-                            true, false)), (String ((Ascii (false, true,
-                            true, true, false, true, true, false)), (String
-                            ((Ascii (true, true, true, false, false, true,
-                            true, false)), (String ((Ascii (false, true,
-                            true, false, false, false, true, false)), (String
-                            ((Ascii (true, false, false, true, false, true,
-                            true, false)), (String ((Ascii (true, false,
-                            true, false, false, true, true, false)), (String
-                            ((Ascii (false, false, true, true, false, true,
-                            true, false)), (String ((Ascii (false, false,
-                            true, false, false, true, true, false)),
-                            EmptyString)))))))))))))))))))))))))))))))) :: [])) :: (
-    (mkcut (S (S (S (S (S (S (S (S (S (S (S (S (S (S (S (S (S (S (S (S (S (S
-      (S (S (S (S (S (S (S (S (S (S (S (S (S
-      O))))))))))))))))))))))))))))))))))) (S (S (S (S (S (S (S (S (S (S (S
-      (S (S (S (S (S (S (S (S (S (S (S (S (S (S (S (S (S (S (S (S (S (S (S (S
-      (S (S (S (S (S (S (S (S (S (S (S (S (S (S (S (S (S (S (S (S (S (S (S (S
-      (S (S (S (S (S
-      O))))))))))))))))))))))))))))))))))))))))))))))))))))))))))))))))
-      (String ((Ascii (true, true, false, false, false, false, true, false)),
-      (String ((Ascii (true, true, true, true, false, true, true, false)),
-      (String ((Ascii (false, true, false, false, true, true, true, false)),
-      (String ((Ascii (false, true, false, false, true, true, true, false)),
-      (String ((Ascii (true, false, true, false, false, true, true, false)),
-      (String ((Ascii (true, true, false, false, false, true, true, false)),
-      (String ((Ascii (false, false, true, false, true, true, true, false)),
-      (String ((Ascii (true, false, true, false, false, true, true, false)),
-      (String ((Ascii (false, false, true, false, false, true, true, false)),
-      (String ((Ascii (false, false, true, false, false, false, true,
-      false)), (String ((Ascii (true, false, false, false, false, true, true,
-      false)), (String ((Ascii (false, false, true, false, true, true, true,
-      false)), (String ((Ascii (true, false, false, false, false, true, true,
-      false)), EmptyString)))))))))))))))))))))))))) ((String ((Ascii (true,
-      true, false, false, true, true, true, false)), (String ((Ascii (false,
-      false, true, false, true, true, true, false)), (String ((Ascii (false,
-      true, false, false, true, true, true, false)), (String ((Ascii (true,
-      false, false, true, false, true, true, false)), (String ((Ascii (false,
-      true, true, true, false, true, true, false)), (String ((Ascii (true,
-      true, true, false, false, true, true, false)), (String ((Ascii (true,
-      true, false, false, true, true, true, false)), (String ((Ascii (false,
-      true, true, true, false, true, false, false)), (String ((Ascii (false,
-      false, true, false, true, false, true, false)), (String ((Ascii (false,
-      true, false, false, true, true, true, false)), (String ((Ascii (true,
-      false, false, true, false, true, true, false)), (String ((Ascii (true,
-      false, true, true, false, true, true, false)), (String ((Ascii (true,
-      true, false, false, true, false, true, false)), (String ((Ascii (false,
-      false, false, false, true, true, true, false)), (String ((Ascii (true,
-      false, false, false, false, true, true, false)), (String ((Ascii (true,
-      true, false, false, false, true, true, false)), (String ((Ascii (true,
-      false, true, false, false, true, true, false)),
-      EmptyString)))))))))))))))))))))))))))))))))) :: [])) :: ((mkcut (S (S
-                                                                  (S (S (S (S
-                                                                  (S (S (S (S
-                                                                  (S (S (S (S
-                                                                  (S (S (S (S
-                                                                  (S (S (S (S
-                                                                  (S (S (S (S
-                                                                  (S (S (S (S
-                                                                  (S (S (S (S
-                                                                  (S (S (S (S
-                                                                  (S (S (S (S
-                                                                  (S (S (S (S
-                                                                  (S (S (S (S
-                                                                  (S (S (S (S
-                                                                  (S (S (S (S
-                                                                  (S (S (S (S
-                                                                  (S (S
-                                                                  O))))))))))))))))))))))))))))))))))))))))))))))))))))))))))))))))
-                                                                  (S (S (S (S
-                                                                  (S (S (S (S
-                                                                  (S (S (S (S
-                                                                  (S (S (S (S
-                                                                  (S (S (S (S
-                                                                  (S (S (S (S
-                                                                  (S (S (S (S
-                                                                  (S (S (S (S
-                                                                  (S (S (S (S
-                                                                  (S (S (S (S
-                                                                  (S (S (S (S
-                                                                  (S (S (S (S
-                                                                  (S (S (S (S
-                                                                  (S (S (S (S
-                                                                  (S (S (S (S
-                                                                  (S (S (S (S
-                                                                  (S (S (S
-                                                                  O)))))))))))))))))))))))))))))))))))))))))))))))))))))))))))))))))))
-                                                                  (String
-                                                                  ((Ascii
-                                                                  (true,
-                                                                  true,
-                                                                  false,
-                                                                  false,
-                                                                  false,
-                                                                  false,
-                                                                  true,
-                                                                  false)),
-                                                                  (String
-                                                                  ((Ascii
-                                                                  (false,
-                                                                  false,
-                                                                  false,
-                                                                  true,
-                                                                  false,
-                                                                  true, true,
-                                                                  false)),
-                                                                  (String
-                                                                  ((Ascii
-                                                                  (true,
-                                                                  false,
-                                                                  false,
-                                                                  false,
-                                                                  false,
-                                                                  true, true,
-                                                                  false)),
-                                                                  (String
-                                                                  ((Ascii
-                                                                  (false,
-                                                                  true, true,
-                                                                  true,
-                                                                  false,
-                                                                  true, true,
-                                                                  false)),
-                                                                  (String
-                                                                  ((Ascii
-                                                                  (true,
-                                                                  true, true,
-                                                                  false,
-                                                                  false,
-                                                                  true, true,
-                                                                  false)),
-                                                                  (String
-                                                                  ((Ascii
-                                                                  (true,
-                                                                  false,
-                                                                  true,
-                                                                  false,
-                                                                  false,
-                                                                  true, true,
-                                                                  false)),
-                                                                  (String
-                                                                  ((Ascii
-                                                                  (true,
-                                                                  true,
-                                                                  false,
-                                                                  false,
-                                                                  false,
-                                                                  false,
-                                                                  true,
-                                                                  false)),
-                                                                  (String
-                                                                  ((Ascii
-                                                                  (true,
-                                                                  true, true,
-                                                                  true,
-                                                                  false,
-                                                                  true, true,
-                                                                  false)),
-                                                                  (String
-                                                                  ((Ascii
-                                                                  (false,
-                                                                  false,
-                                                                  true,
-                                                                  false,
-                                                                  false,
-                                                                  true, true,
-                                                                  false)),
-                                                                  (String
-                                                                  ((Ascii
-                                                                  (true,
-                                                                  false,
-                                                                  true,
-                                                                  false,
-                                                                  false,
-                                                                  true, true,
-                                                                  false)),
-                                                                  EmptyString))))))))))))))))))))
-                                                                  ((String
-                                                                  ((Ascii
-                                                                  (true,
-                                                                  true,
-                                                                  false,
-                                                                  false,
-                                                                  true, true,
-                                                                  true,
-                                                                  false)),
-                                                                  (String
-                                                                  ((Ascii
-                                                                  (false,
-                                                                  false,
-                                                                  true,
-                                                                  false,
-                                                                  true, true,
-                                                                  true,
-                                                                  false)),
-                                                                  (String
-                                                                  ((Ascii
-                                                                  (false,
-                                                                  true,
-                                                                  false,
-                                                                  false,
-                                                                  true, true,
-                                                                  true,
-                                                                  false)),
-                                                                  (String
-                                                                  ((Ascii
-                                                                  (true,
-                                                                  false,
-                                                                  false,
-                                                                  true,
-                                                                  false,
-                                                                  true, true,
-                                                                  false)),
-                                                                  (String
-                                                                  ((Ascii
-                                                                  (false,
-                                                                  true, true,
-                                                                  true,
-                                                                  false,
-                                                                  true, true,
-                                                                  false)),
-                                                                  (String
-                                                                  ((Ascii
-                                                                  (true,
-                                                                  true, true,
-                                                                  false,
-                                                                  false,
-                                                                  true, true,
-                                                                  false)),
-                                                                  (String
-                                                                  ((Ascii
-                                                                  (true,
-                                                                  true,
-                                                                  false,
-                                                                  false,
-                                                                  true, true,
-                                                                  true,
-                                                                  false)),
-                                                                  (String
-                                                                  ((Ascii
-                                                                  (false,
-                                                                  true, true,
-                                                                  true,
-                                                                  false,
-                                                                  true,
-                                                                  false,
-                                                                  false)),
-                                                                  (String
-                                                                  ((Ascii
-                                                                  (false,
-                                                                  false,
-                                                                  true,
-                                                                  false,
-                                                                  true,
-                                                                  false,
-                                                                  true,
-                                                                  false)),
-                                                                  (String
-                                                                  ((Ascii
-                                                                  (false,
-                                                                  true,
-                                                                  false,
-                                                                  false,
-                                                                  true, true,
-                                                                  true,
-                                                                  false)),
-                                                                  (String
-                                                                  ((Ascii
-                                                                  (true,
-                                                                  false,
-                                                                  false,
-                                                                  true,
-                                                                  false,
-                                                                  true, true,
-                                                                  false)),
-                                                                  (String
-                                                                  ((Ascii
-                                                                  (true,
-                                                                  false,
-                                                                  true, true,
-                                                                  false,
-                                                                  true, true,
-                                                                  false)),
-                                                                  (String
-                                                                  ((Ascii
-                                                                  (true,
-                                                                  true,
-                                                                  false,
-                                                                  false,
-                                                                  true,
-                                                                  false,
-                                                                  true,
-                                                                  false)),
-                                                                  (String
-                                                                  ((Ascii
-                                                                  (false,
-                                                                  false,
-                                                                  false,
-                                                                  false,
-                                                                  true, true,
-                                                                  true,
-                                                                  false)),
-                                                                  (String
-                                                                  ((Ascii
-                                                                  (true,
-                                                                  false,
-                                                                  false,
-                                                                  false,
-                                                                  false,
-                                                                  true, true,
-                                                                  false)),
-                                                                  (String
-                                                                  ((Ascii
-                                                                  (true,
-                                                                  true,
-                                                                  false,
-                                                                  false,
-                                                                  false,
-                                                                  true, true,
-                                                                  false)),
-                                                                  (String
-                                                                  ((Ascii
-                                                                  (true,
-                                                                  false,
-                                                                  true,
-                                                                  false,
-                                                                  false,
-                                                                  true, true,
-                                                                  false)),
-                                                                  EmptyString)))))))))))))))))))))))))))))))))) :: [])) :: (
-    (mkcut (S (S (S (S (S (S (S (S (S (S (S (S (S (S (S (S (S (S (S (S (S (S
-      (S (S (S (S (S (S (S (S (S (S (S (S (S (S (S (S (S (S (S (S (S (S (S (S
-      (S (S (S (S (S (S (S (S (S (S (S (S (S (S (S (S (S (S (S (S (S
-      O))))))))))))))))))))))))))))))))))))))))))))))))))))))))))))))))))) (S
-      (S (S (S (S (S (S (S (S (S (S (S (S (S (S (S (S (S (S (S (S (S (S (S (S
-      (S (S (S (S (S (S (S (S (S (S (S (S (S (S (S (S (S (S (S (S (S (S (S (S
-      (S (S (S (S (S (S (S (S (S (S (S (S (S (S (S (S (S (S (S (S (S (S (S (S
-      (S
-      O))))))))))))))))))))))))))))))))))))))))))))))))))))))))))))))))))))))))))
-      (String ((Ascii (false, false, true, false, true, false, true, false)),
-      (String ((Ascii (false, true, false, false, true, true, true, false)),
-      (String ((Ascii (true, false, false, false, false, true, true, false)),
-      (String ((Ascii (true, true, false, false, false, true, true, false)),
-      (String ((Ascii (true, false, true, false, false, true, true, false)),
-      (String ((Ascii (true, true, false, false, true, false, true, false)),
-      (String ((Ascii (true, false, true, false, false, true, true, false)),
-      (String ((Ascii (true, false, false, false, true, true, true, false)),
-      (String ((Ascii (true, false, true, false, true, true, true, false)),
-      (String ((Ascii (true, false, true, false, false, true, true, false)),
-      (String ((Ascii (false, true, true, true, false, true, true, false)),
-      (String ((Ascii (true, true, false, false, false, true, true, false)),
-      (String ((Ascii (true, false, true, false, false, true, true, false)),
-      (String ((Ascii (false, true, true, true, false, false, true, false)),
-      (String ((Ascii (true, false, true, false, true, true, true, false)),
-      (String ((Ascii (true, false, true, true, false, true, true, false)),
-      (String ((Ascii (false, true, false, false, false, true, true, false)),
-      (String ((Ascii (true, false, true, false, false, true, true, false)),
-      (String ((Ascii (false, true, false, false, true, true, true, false)),
-      EmptyString)))))))))))))))))))))))))))))))))))))) ((String ((Ascii
-      (true, true, false, false, true, true, true, false)), (String ((Ascii
-      (false, false, true, false, true, true, true, false)), (String ((Ascii
-      (false, true, false, false, true, true, true, false)), (String ((Ascii
-      (true, false, false, true, false, true, true, false)), (String ((Ascii
-      (false, true, true, true, false, true, true, false)), (String ((Ascii
-      (true, true, true, false, false, true, true, false)), (String ((Ascii
-      (true, true, false, false, true, true, true, false)), (String ((Ascii
-      (false, true, true, true, false, true, false, false)), (String ((Ascii
-      (false, false, true, false, true, false, true, false)), (String ((Ascii
-      (false, true, false, false, true, true, true, false)), (String ((Ascii
-      (true, false, false, true, false, true, true, false)), (String ((Ascii
-      (true, false, true, true, false, true, true, false)), (String ((Ascii
-      (true, true, false, false, true, false, true, false)), (String ((Ascii
-      (false, false, false, false, true, true, true, false)), (String ((Ascii
-      (true, false, false, false, false, true, true, false)), (String ((Ascii
-      (true, true, false, false, false, true, true, false)), (String ((Ascii
-      (true, false, true, false, false, true, true, false)),
-      EmptyString)))))))))))))))))))))))))))))))))) :: [])) :: ((mkcut (S (S
-                                                                  (S (S (S (S
-                                                                  (S (S (S (S
-                                                                  (S (S (S (S
-                                                                  (S (S (S (S
-                                                                  (S (S (S (S
-                                                                  (S (S (S (S
-                                                                  (S (S (S (S
-                                                                  (S (S (S (S
-                                                                  (S (S (S (S
-                                                                  (S (S (S (S
-                                                                  (S (S (S (S
-                                                                  (S (S (S (S
-                                                                  (S (S (S (S
-                                                                  (S (S (S (S
-                                                                  (S (S (S (S
-                                                                  (S (S (S (S
-                                                                  (S (S (S (S
-                                                                  (S (S (S (S
-                                                                  O))))))))))))))))))))))))))))))))))))))))))))))))))))))))))))))))))))))))))
-                                                                  (S (S (S (S
-                                                                  (S (S (S (S
-                                                                  (S (S (S (S
-                                                                  (S (S (S (S
-                                                                  (S (S (S (S
-                                                                  (S (S (S (S
-                                                                  (S (S (S (S
-                                                                  (S (S (S (S
-                                                                  (S (S (S (S
-                                                                  (S (S (S (S
-                                                                  (S (S (S (S
-                                                                  (S (S (S (S
-                                                                  (S (S (S (S
-                                                                  (S (S (S (S
-                                                                  (S (S (S (S
-                                                                  (S (S (S (S
-                                                                  (S (S (S (S
-                                                                  (S (S (S (S
-                                                                  (S (S (S (S
-                                                                  (S (S (S
-                                                                  O)))))))))))))))))))))))))))))))))))))))))))))))))))))))))))))))))))))))))))))))
-                                                                  EmptyString
-                                                                  []) :: (
-    (mkcut (S (S (S (S (S (S (S (S (S (S (S (S (S (S (S (S (S (S (S (S (S (S
-      (S (S (S (S (S (S (S (S (S (S (S (S (S (S (S (S (S (S (S (S (S (S (S (S
-      (S (S (S (S (S (S (S (S (S (S (S (S (S (S (S (S (S (S (S (S (S (S (S (S
-      (S (S (S (S (S (S (S (S (S
-      O)))))))))))))))))))))))))))))))))))))))))))))))))))))))))))))))))))))))))))))))
-      (S (S (S (S (S (S (S (S (S (S (S (S (S (S (S (S (S (S (S (S (S (S (S (S
-      (S (S (S (S (S (S (S (S (S (S (S (S (S (S (S (S (S (S (S (S (S (S (S (S
-      (S (S (S (S (S (S (S (S (S (S (S (S (S (S (S (S (S (S (S (S (S (S (S (S
-      (S (S (S (S (S (S (S (S (S (S (S (S (S (S (S (S (S (S (S (S (S (S
-      O))))))))))))))))))))))))))))))))))))))))))))))))))))))))))))))))))))))))))))))))))))))))))))))
-      (String ((Ascii (false, false, true, false, true, false, true, false)),
-      (String ((Ascii (false, true, false, false, true, true, true, false)),
-      (String ((Ascii (true, false, false, false, false, true, true, false)),
-      (String ((Ascii (true, true, false, false, false, true, true, false)),
-      (String ((Ascii (true, false, true, false, false, true, true, false)),
-      (String ((Ascii (false, true, true, true, false, false, true, false)),
-      (String ((Ascii (true, false, true, false, true, true, true, false)),
-      (String ((Ascii (true, false, true, true, false, true, true, false)),
-      (String ((Ascii (false, true, false, false, false, true, true, false)),
-      (String ((Ascii (true, false, true, false, false, true, true, false)),
-      (String ((Ascii (false, true, false, false, true, true, true, false)),
-      EmptyString)))))))))))))))))))))) ((String ((Ascii (true, true, false,
-      false, true, true, true, false)), (String ((Ascii (false, false, true,
-      false, true, true, true, false)), (String ((Ascii (false, true, false,
-      false, true, true, true, false)), (String ((Ascii (true, false, false,
-      true, false, true, true, false)), (String ((Ascii (false, true, true,
-      true, false, true, true, false)), (String ((Ascii (true, true, true,
-      false, false, true, true, false)), (String ((Ascii (true, true, false,
-      false, true, true, true, false)), (String ((Ascii (false, true, true,
-      true, false, true, false, false)), (String ((Ascii (false, false, true,
-      false, true, false, true, false)), (String ((Ascii (false, true, false,
-      false, true, true, true, false)), (String ((Ascii (true, false, false,
-      true, false, true, true, false)), (String ((Ascii (true, false, true,
-      true, false, true, true, false)), (String ((Ascii (true, true, false,
-      false, true, false, true, false)), (String ((Ascii (false, false,
-      false, false, true, true, true, false)), (String ((Ascii (true, false,
-      false, false, false, true, true, false)), (String ((Ascii (true, true,
-      false, false, false, true, true, false)), (String ((Ascii (true, false,
-      true, false, false, true, true, false)),
-      EmptyString)))))))))))))))))))))))))))))))))) :: [])) :: []))))))))))) }
+let rec read_full need chunks acc =
+  if N.eqb need N0
+  then ((acc, chunks), true)
+  else (match chunks with
+        | [] -> ((acc, []), false)
+        | c :: cs ->
+          if N.leb (blen c) need
+          then read_full (N.sub need (blen c)) cs (app acc c)
+          else (((app acc (firstn (N.to_nat need) c)),
+                 ((skipn (N.to_nat need) c) :: cs)), true))
 
-(** val l_Addenda99 : layout **)
+(** val preview_size : n **)
 
-let l_Addenda99 =
-  { l_name = (String ((Ascii (true, false, false, false, false, false, true,
-    false)), (String ((Ascii (false, false, true, false, false, true, true,
-    false)), (String ((Ascii (false, false, true, false, false, true, true,
-    false)), (String ((Ascii (true, false, true, false, false, true, true,
-    false)), (String ((Ascii (false, true, true, true, false, true, true,
-    false)), (String ((Ascii (false, false, true, false, false, true, true,
-    false)), (String ((Ascii (true, false, false, false, false, true, true,
-    false)), (String ((Ascii (true, false, false, true, true, true, false,
-    false)), (String ((Ascii (true, false, false, true, true, true, false,
-    false)), EmptyString)))))))))))))))))); l_ix = IRune; l_segs = ((SLit
-    ((Npos (XI (XI (XI (XO (XI XH)))))) :: [])) :: ((SRaw (String ((Ascii
-    (false, false, true, false, true, false, true, false)), (String ((Ascii
-    (true, false, false, true, true, true, true, false)), (String ((Ascii
-    (false, false, false, false, true, true, true, false)), (String ((Ascii
-    (true, false, true, false, false, true, true, false)), (String ((Ascii
-    (true, true, false, false, false, false, true, false)), (String ((Ascii
-    (true, true, true, true, false, true, true, false)), (String ((Ascii
-    (false, false, true, false, false, true, true, false)), (String ((Ascii
-    (true, false, true, false, false, true, true, false)),
-    EmptyString))))))))))))))))) :: ((SRaw (String ((Ascii (false, true,
-    false, false, true, false, true, false)), (String ((Ascii (true, false,
-    true, false, false, true, true, false)), (String ((Ascii (false, false,
-    true, false, true, true, true, false)), (String ((Ascii (true, false,
-    true, false, true, true, true, false)), (String ((Ascii (false, true,
-    false, false, true, true, true, false)), (String ((Ascii (false, true,
-    true, true, false, true, true, false)), (String ((Ascii (true, true,
-    false, false, false, false, true, false)), (String ((Ascii (true, true,
-    true, true, false, true, true, false)), (String ((Ascii (false, false,
-    true, false, false, true, true, false)), (String ((Ascii (true, false,
-    true, false, false, true, true, false)),
-    EmptyString))))))))))))))))))))) :: ((SStr ((String ((Ascii (true, true,
-    true, true, false, false, true, false)), (String ((Ascii (false, true,
-    false, false, true, true, true, false)), (String ((Ascii (true, false,
-    false, true, false, true, true, false)), (String ((Ascii (true, true,
-    true, false, false, true, true, false)), (String ((Ascii (true, false,
-    false, true, false, true, true, false)), (String ((Ascii (false, true,
-    true, true, false, true, true, false)), (String ((Ascii (true, false,
-    false, false, false, true, true, false)), (String ((Ascii (false, false,
-    true, true, false, true, true, false)), (String ((Ascii (false, false,
-    true, false, true, false, true, false)), (String ((Ascii (false, true,
-    false, false, true, true, true, false)), (String ((Ascii (true, false,
-    false, false, false, true, true, false)), (String ((Ascii (true, true,
-    false, false, false, true, true, false)), (String ((Ascii (true, false,
-    true, false, false, true, true, false)),
-    EmptyString)))))))))))))))))))))))))), (S (S (S (S (S (S (S (S (S (S (S
-    (S (S (S (S O))))))))))))))))) :: ((SCustom ((String ((Ascii (true,
-    false, false, false, false, false, true, false)), (String ((Ascii (false,
-    false, true, false, false, true, true, false)), (String ((Ascii (false,
-    false, true, false, false, true, true, false)), (String ((Ascii (true,
-    false, true, false, false, true, true, false)), (String ((Ascii (false,
-    true, true, true, false, true, true, false)), (String ((Ascii (false,
-    false, true, false, false, true, true, false)), (String ((Ascii (true,
-    false, false, false, false, true, true, false)), (String ((Ascii (true,
-    false, false, true, true, true, false, false)), (String ((Ascii (true,
-    false, false, true, true, true, false, false)), (String ((Ascii (false,
-    true, true, true, false, true, false, false)), (String ((Ascii (false,
-    false, true, false, false, false, true, false)), (String ((Ascii (true,
-    false, false, false, false, true, true, false)), (String ((Ascii (false,
-    false, true, false, true, true, true, false)), (String ((Ascii (true,
-    false, true, false, false, true, true, false)), (String ((Ascii (true,
-    true, true, true, false, false, true, false)), (String ((Ascii (false,
-    true, true, false, false, true, true, false)), (String ((Ascii (false,
-    false, true, false, false, false, true, false)), (String ((Ascii (true,
-    false, true, false, false, true, true, false)), (String ((Ascii (true,
-    false, false, false, false, true, true, false)), (String ((Ascii (false,
-    false, true, false, true, true, true, false)), (String ((Ascii (false,
-    false, false, true, false, true, true, false)), (String ((Ascii (false,
-    true, true, false, false, false, true, false)), (String ((Ascii (true,
-    false, false, true, false, true, true, false)), (String ((Ascii (true,
-    false, true, false, false, true, true, false)), (String ((Ascii (false,
-    false, true, true, false, true, true, false)), (String ((Ascii (false,
-    false, true, false, false, true, true, false)),
-    EmptyString)))))))))))))))))))))))))))))))))))))))))))))))))))), (String
-    ((Ascii (true, true, false, false, true, true, false, false)), (String
-    ((Ascii (true, false, true, false, false, true, true, false)), (String
-    ((Ascii (false, true, false, false, true, true, false, false)), (String
-    ((Ascii (false, false, false, true, true, true, false, false)), (String
-    ((Ascii (true, false, true, false, true, true, false, false)), (String
-    ((Ascii (true, false, true, false, false, true, true, false)), (String
-    ((Ascii (true, true, true, false, true, true, false, false)), (String
-    ((Ascii (false, false, false, true, true, true, false, false)), (String
-    ((Ascii (true, false, false, true, true, true, false, false)), (String
-    ((Ascii (true, false, true, false, false, true, true, false)), (String
-    ((Ascii (true, false, true, false, true, true, false, false)), (String
-    ((Ascii (false, false, true, false, true, true, false, false)),
-    EmptyString)))))))))))))))))))))))))) :: ((SStr ((String ((Ascii (true,
-    true, true, true, false, false, true, false)), (String ((Ascii (false,
-    true, false, false, true, true, true, false)), (String ((Ascii (true,
-    false, false, true, false, true, true, false)), (String ((Ascii (true,
-    true, true, false, false, true, true, false)), (String ((Ascii (true,
-    false, false, true, false, true, true, false)), (String ((Ascii (false,
-    true, true, true, false, true, true, false)), (String ((Ascii (true,
-    false, false, false, false, true, true, false)), (String ((Ascii (false,
-    false, true, true, false, true, true, false)), (String ((Ascii (false,
-    false, true, false, false, false, true, false)), (String ((Ascii (false,
-    true, true, false, false, false, true, false)), (String ((Ascii (true,
-    false, false, true, false, false, true, false)),
-    EmptyString)))))))))))))))))))))), (S (S (S (S (S (S (S (S
-    O)))))))))) :: ((SAlpha ((String ((Ascii (true, false, false, false,
-    false, false, true, false)), (String ((Ascii (false, false, true, false,
-    false, true, true, false)), (String ((Ascii (false, false, true, false,
-    false, true, true, false)), (String ((Ascii (true, false, true, false,
-    false, true, true, false)), (String ((Ascii (false, true, true, true,
-    false, true, true, false)), (String ((Ascii (false, false, true, false,
-    false, true, true, false)), (String ((Ascii (true, false, false, false,
-    false, true, true, false)), (String ((Ascii (true, false, false, true,
-    false, false, true, false)), (String ((Ascii (false, true, true, true,
-    false, true, true, false)), (String ((Ascii (false, true, true, false,
-    false, true, true, false)), (String ((Ascii (true, true, true, true,
-    false, true, true, false)), (String ((Ascii (false, true, false, false,
-    true, true, true, false)), (String ((Ascii (true, false, true, true,
-    false, true, true, false)), (String ((Ascii (true, false, false, false,
-    false, true, true, false)), (String ((Ascii (false, false, true, false,
-    true, true, true, false)), (String ((Ascii (true, false, false, true,
-    false, true, true, false)), (String ((Ascii (true, true, true, true,
-    false, true, true, false)), (String ((Ascii (false, true, true, true,
-    false, true, true, false)),
-    EmptyString)))))))))))))))))))))))))))))))))))), (S (S (S (S (S (S (S (S
-    (S (S (S (S (S (S (S (S (S (S (S (S (S (S (S (S (S (S (S (S (S (S (S (S
-    (S (S (S (S (S (S (S (S (S (S (S (S
-    O)))))))))))))))))))))))))))))))))))))))))))))) :: ((SStr ((String
-    ((Ascii (false, false, true, false, true, false, true, false)), (String
-    ((Ascii (false, true, false, false, true, true, true, false)), (String
-    ((Ascii (true, false, false, false, false, true, true, false)), (String
-    ((Ascii (true, true, false, false, false, true, true, false)), (String
-    ((Ascii (true, false, true, false, false, true, true, false)), (String
-    ((Ascii (false, true, true, true, false, false, true, false)), (String
-    ((Ascii (true, false, true, false, true, true, true, false)), (String
-    ((Ascii (true, false, true, true, false, true, true, false)), (String
-    ((Ascii (false, true, false, false, false, true, true, false)), (String
-    ((Ascii (true, false, true, false, false, true, true, false)), (String
-    ((Ascii (false, true, false, false, true, true, true, false)),
-    EmptyString)))))))))))))))))))))), (S (S (S (S (S (S (S (S (S (S (S (S (S
-    (S (S O))))))))))))))))) :: [])))))))); l_cuts =
-    ((mkcut O (S O) EmptyString []) :: ((mkcut (S O) (S (S (S O))) (String
-                                          ((Ascii (false, false, true, false,
-                                          true, false, true, false)), (String
-                                          ((Ascii (true, false, false, true,
-                                          true, true, true, false)), (String
-                                          ((Ascii (false, false, false,
-                                          false, true, true, true, false)),
-                                          (String ((Ascii (true, false, true,
-                                          false, false, true, true, false)),
-                                          (String ((Ascii (true, true, false,
-                                          false, false, false, true, false)),
-                                          (String ((Ascii (true, true, true,
-                                          true, false, true, true, false)),
-                                          (String ((Ascii (false, false,
-                                          true, false, false, true, true,
-                                          false)), (String ((Ascii (true,
-                                          false, true, false, false, true,
-                                          true, false)),
-                                          EmptyString)))))))))))))))) []) :: (
-    (mkcut (S (S (S O))) (S (S (S (S (S (S O)))))) (String ((Ascii (false,
-      true, false, false, true, false, true, false)), (String ((Ascii (true,
-      false, true, false, false, true, true, false)), (String ((Ascii (false,
-      false, true, false, true, true, true, false)), (String ((Ascii (true,
-      false, true, false, true, true, true, false)), (String ((Ascii (false,
-      true, false, false, true, true, true, false)), (String ((Ascii (false,
-      true, true, true, false, true, true, false)), (String ((Ascii (true,
-      true, false, false, false, false, true, false)), (String ((Ascii (true,
-      true, true, true, false, true, true, false)), (String ((Ascii (false,
-      false, true, false, false, true, true, false)), (String ((Ascii (true,
-      false, true, false, false, true, true, false)),
-      EmptyString)))))))))))))))))))) []) :: ((mkcut (S (S (S (S (S (S
-                                                O)))))) (S (S (S (S (S (S (S
-                                                (S (S (S (S (S (S (S (S (S (S
-                                                (S (S (S (S
-                                                O)))))))))))))))))))))
-                                                (String ((Ascii (true, true,
-                                                true, true, false, false,
-                                                true, false)), (String
-                                                ((Ascii (false, true, false,
-                                                false, true, true, true,
-                                                false)), (String ((Ascii
-                                                (true, false, false, true,
-                                                false, true, true, false)),
-                                                (String ((Ascii (true, true,
-                                                true, false, false, true,
-                                                true, false)), (String
-                                                ((Ascii (true, false, false,
-                                                true, false, true, true,
-                                                false)), (String ((Ascii
-                                                (false, true, true, true,
-                                                false, true, true, false)),
-                                                (String ((Ascii (true, false,
-                                                false, false, false, true,
-                                                true, false)), (String
-                                                ((Ascii (false, false, true,
-                                                true, false, true, true,
-                                                false)), (String ((Ascii
-                                                (false, false, true, false,
-                                                true, false, true, false)),
-                                                (String ((Ascii (false, true,
-                                                false, false, true, true,
-                                                true, false)), (String
-                                                ((Ascii (true, false, false,
-                                                false, false, true, true,
-                                                false)), (String ((Ascii
-                                                (true, true, false, false,
-                                                false, true, true, false)),
-                                                (String ((Ascii (true, false,
-                                                true, false, false, true,
-                                                true, false)),
-                                                EmptyString))))))))))))))))))))))))))
-                                                ((String ((Ascii (true, true,
-                                                false, false, true, true,
-                                                true, false)), (String
-                                                ((Ascii (false, false, true,
-                                                false, true, true, true,
-                                                false)), (String ((Ascii
-                                                (false, true, false, false,
-                                                true, true, true, false)),
-                                                (String ((Ascii (true, false,
-                                                false, true, false, true,
-                                                true, false)), (String
-                                                ((Ascii (false, true, true,
-                                                true, false, true, true,
-                                                false)), (String ((Ascii
-                                                (true, true, true, false,
-                                                false, true, true, false)),
-                                                (String ((Ascii (true, true,
-                                                false, false, true, true,
-                                                true, false)), (String
-                                                ((Ascii (false, true, true,
-                                                true, false, true, false,
-                                                false)), (String ((Ascii
-                                                (false, false, true, false,
-                                                true, false, true, false)),
-                                                (String ((Ascii (false, true,
-                                                false, false, true, true,
-                                                true, false)), (String
-                                                ((Ascii (true, false, false,
-                                                true, false, true, true,
-                                                false)), (String ((Ascii
-                                                (true, false, true, true,
-                                                false, true, true, false)),
-                                                (String ((Ascii (true, true,
-                                                false, false, true, false,
-                                                true, false)), (String
-                                                ((Ascii (false, false, false,
-                                                false, true, true, true,
-                                                false)), (String ((Ascii
-                                                (true, false, false, false,
-                                                false, true, true, false)),
-                                                (String ((Ascii (true, true,
-                                                false, false, false, true,
-                                                true, false)), (String
-                                                ((Ascii (true, false, true,
-                                                false, false, true, true,
-                                                false)),
-                                                EmptyString)))))))))))))))))))))))))))))))))) :: [])) :: (
-    (mkcut (S (S (S (S (S (S (S (S (S (S (S (S (S (S (S (S (S (S (S (S (S
-      O))))))))))))))))))))) (S (S (S (S (S (S (S (S (S (S (S (S (S (S (S (S
-      (S (S (S (S (S (S (S (S (S (S (S O))))))))))))))))))))))))))) (String
-      ((Ascii (false, false, true, false, false, false, true, false)),
-      (String ((Ascii (true, false, false, false, false, true, true, false)),
-      (String ((Ascii (false, false, true, false, true, true, true, false)),
-      (String ((Ascii (true, false, true, false, false, true, true, false)),
-      (String ((Ascii (true, true, true, true, false, false, true, false)),
-      (String ((Ascii (false, true, true, false, false, true, true, false)),
-      (String ((Ascii (false, false, true, false, false, false, true,
-      false)), (String ((Ascii (true, false, true, false, false, true, true,
-      false)), (String ((Ascii (true, false, false, false, false, true, true,
-      false)), (String ((Ascii (false, false, true, false, true, true, true,
-      false)), (String ((Ascii (false, false, false, true, false, true, true,
-      false)), EmptyString)))))))))))))))))))))) ((String ((Ascii (false,
-      true, true, false, true, true, true, false)), (String ((Ascii (true,
-      false, false, false, false, true, true, false)), (String ((Ascii
-      (false, false, true, true, false, true, true, false)), (String ((Ascii
-      (true, false, false, true, false, true, true, false)), (String ((Ascii
-      (false, false, true, false, false, true, true, false)), (String ((Ascii
-      (true, false, false, false, false, true, true, false)), (String ((Ascii
-      (false, false, true, false, true, true, true, false)), (String ((Ascii
-      (true, false, true, false, false, true, true, false)), (String ((Ascii
-      (true, true, false, false, true, false, true, false)), (String ((Ascii
-      (true, false, false, true, false, true, true, false)), (String ((Ascii
-      (true, false, true, true, false, true, true, false)), (String ((Ascii
-      (false, false, false, false, true, true, true, false)), (String ((Ascii
-      (false, false, true, true, false, true, true, false)), (String ((Ascii
-      (true, false, true, false, false, true, true, false)), (String ((Ascii
-      (false, false, true, false, false, false, true, false)), (String
-      ((Ascii (true, false, false, false, false, true, true, false)), (String
-      ((Ascii (false, false, true, false, true, true, true, false)), (String
-      ((Ascii (true, false, true, false, false, true, true, false)),
-      EmptyString)))))))))))))))))))))))))))))))))))) :: [])) :: ((mkcut (S
-                                                                    (S (S (S
-                                                                    (S (S (S
-                                                                    (S (S (S
-                                                                    (S (S (S
-                                                                    (S (S (S
-                                                                    (S (S (S
-                                                                    (S (S (S
-                                                                    (S (S (S
-                                                                    (S (S
-                                                                    O)))))))))))))))))))))))))))
-                                                                    (S (S (S
-                                                                    (S (S (S
-                                                                    (S (S (S
-                                                                    (S (S (S
-                                                                    (S (S (S
-                                                                    (S (S (S
-                                                                    (S (S (S
-                                                                    (S (S (S
-                                                                    (S (S (S
-                                                                    (S (S (S
-                                                                    (S (S (S
-                                                                    (S (S
-                                                                    O)))))))))))))))))))))))))))))))))))
-                                                                    (String
-                                                                    ((Ascii
-                                                                    (true,
-                                                                    true,
-                                                                    true,
-                                                                    true,
-                                                                    false,
-                                                                    false,
-                                                                    true,
-                                                                    false)),
-                                                                    (String
-                                                                    ((Ascii
-                                                                    (false,
-                                                                    true,
-                                                                    false,
-                                                                    false,
-                                                                    true,
-                                                                    true,
-                                                                    true,
-                                                                    false)),
-                                                                    (String
-                                                                    ((Ascii
-                                                                    (true,
-                                                                    false,
-                                                                    false,
-                                                                    true,
-                                                                    false,
-                                                                    true,
-                                                                    true,
-                                                                    false)),
-                                                                    (String
-                                                                    ((Ascii
-                                                                    (true,
-                                                                    true,
-                                                                    true,
-                                                                    false,
-                                                                    false,
-                                                                    true,
-                                                                    true,
-                                                                    false)),
-                                                                    (String
-                                                                    ((Ascii
-                                                                    (true,
-                                                                    false,
-                                                                    false,
-                                                                    true,
-                                                                    false,
-                                                                    true,
-                                                                    true,
-                                                                    false)),
-                                                                    (String
-                                                                    ((Ascii
-                                                                    (false,
-                                                                    true,
-                                                                    true,
-                                                                    true,
-                                                                    false,
-                                                                    true,
-                                                                    true,
-                                                                    false)),
-                                                                    (String
-                                                                    ((Ascii
-                                                                    (true,
-                                                                    false,
-                                                                    false,
-                                                                    false,
-                                                                    false,
-                                                                    true,
-                                                                    true,
-                                                                    false)),
-                                                                    (String
-                                                                    ((Ascii
-                                                                    (false,
-                                                                    false,
-                                                                    true,
-                                                                    true,
-                                                                    false,
-                                                                    true,
-                                                                    true,
-                                                                    false)),
-                                                                    (String
-                                                                    ((Ascii
-                                                                    (false,
-                                                                    false,
-                                                                    true,
-                                                                    false,
-                                                                    false,
-                                                                    false,
-                                                                    true,
-                                                                    false)),
-                                                                    (String
-                                                                    ((Ascii
-                                                                    (false,
-                                                                    true,
-                                                                    true,
-                                                                    false,
-                                                                    false,
-                                                                    false,
-                                                                    true,
-                                                                    false)),
-                                                                    (String
-                                                                    ((Ascii
-                                                                    (true,
-                                                                    false,
-                                                                    false,
-                                                                    true,
-                                                                    false,
-                                                                    false,
-                                                                    true,
-                                                                    false)),
-                                                                    EmptyString))))))))))))))))))))))
-                                                                    ((String
-                                                                    ((Ascii
-                                                                    (false,
-                                                                    false,
-                                                                    false,
-                                                                    false,
-                                                                    true,
-                                                                    true,
-                                                                    true,
-                                                                    false)),
-                                                                    (String
-                                                                    ((Ascii
-                                                                    (true,
-                                                                    false,
-                                                                    false,
-                                                                    false,
-                                                                    false,
-                                                                    true,
-                                                                    true,
-                                                                    false)),
-                                                                    (String
-                                                                    ((Ascii
-                                                                    (false,
-                                                                    true,
-                                                                    false,
-                                                                    false,
-                                                                    true,
-                                                                    true,
-                                                                    true,
-                                                                    false)),
-                                                                    (String
-                                                                    ((Ascii
-                                                                    (true,
-                                                                    true,
-                                                                    false,
-                                                                    false,
-                                                                    true,
-                                                                    true,
-                                                                    true,
-                                                                    false)),
-                                                                    (String
-                                                                    ((Ascii
-                                                                    (true,
-                                                                    false,
-                                                                    true,
-                                                                    false,
-                                                                    false,
-                                                                    true,
-                                                                    true,
-                                                                    false)),
-                                                                    (String
-                                                                    ((Ascii
-                                                                    (true,
-                                                                    true,
-                                                                    false,
-                                                                    false,
-                                                                    true,
-                                                                    false,
-                                                                    true,
-                                                                    false)),
-                                                                    (String
-                                                                    ((Ascii
-                                                                    (false,
-                                                                    false,
-                                                                    true,
-                                                                    false,
-                                                                    true,
-                                                                    true,
-                                                                    true,
-                                                                    false)),
-                                                                    (String
-                                                                    ((Ascii
-                                                                    (false,
-                                                                    true,
-                                                                    false,
-                                                                    false,
-                                                                    true,
-                                                                    true,
-                                                                    true,
-                                                                    false)),
-                                                                    (String
-                                                                    ((Ascii
-                                                                    (true,
-                                                                    false,
-                                                                    false,
-                                                                    true,
-                                                                    false,
-                                                                    true,
-                                                                    true,
-                                                                    false)),
-                                                                    (String
-                                                                    ((Ascii
-                                                                    (false,
-                                                                    true,
-                                                                    true,
-                                                                    true,
-                                                                    false,
-                                                                    true,
-                                                                    true,
-                                                                    false)),
-                                                                    (String
-                                                                    ((Ascii
-                                                                    (true,
-                                                                    true,
-                                                                    true,
-                                                                    false,
-                                                                    false,
-                                                                    true,
-                                                                    true,
-                                                                    false)),
-                                                                    (String
-                                                                    ((Ascii
-                                                                    (false,
-                                                                    true,
-                                                                    true,
-                                                                    false,
-                                                                    false,
-                                                                    false,
-                                                                    true,
-                                                                    false)),
-                                                                    (String
-                                                                    ((Ascii
-                                                                    (true,
-                                                                    false,
-                                                                    false,
-                                                                    true,
-                                                                    false,
-                                                                    true,
-                                                                    true,
-                                                                    false)),
-                                                                    (String
-                                                                    ((Ascii
-                                                                    (true,
-                                                                    false,
-                                                                    true,
-                                                                    false,
-                                                                    false,
-                                                                    true,
-                                                                    true,
-                                                                    false)),
-                                                                    (String
-                                                                    ((Ascii
-                                                                    (false,
-                                                                    false,
-                                                                    true,
-                                                                    true,
-                                                                    false,
-                                                                    true,
-                                                                    true,
-                                                                    false)),
-                                                                    (String
-                                                                    ((Ascii
-                                                                    (false,
-                                                                    false,
-                                                                    true,
-                                                                    false,
-                                                                    false,
-                                                                    true,
-                                                                    true,
-                                                                    false)),
-                                                                    EmptyString)))))))))))))))))))))))))))))))) :: [])) :: (
-    (mkcut (S (S (S (S (S (S (S (S (S (S (S (S (S (S (S (S (S (S (S (S (S (S
-      (S (S (S (S (S (S (S (S (S (S (S (S (S
-      O))))))))))))))))))))))))))))))))))) (S (S (S (S (S (S (S (S (S (S (S
-      (S (S (S (S (S (S (S (S (S (S (S (S (S (S (S (S (S (S (S (S (S (S (S (S
-      (S (S (S (S (S (S (S (S (S (S (S (S (S (S (S (S (S (S (S (S (S (S (S (S
-      (S (S (S (S (S (S (S (S (S (S (S (S (S (S (S (S (S (S (S (S
-      O)))))))))))))))))))))))))))))))))))))))))))))))))))))))))))))))))))))))))))))))
-      (String ((Ascii (true, false, false, false, false, false, true,
-      false)), (String ((Ascii (false, false, true, false, false, true, true,
-      false)), (String ((Ascii (false, false, true, false, false, true, true,
-      false)), (String ((Ascii (true, false, true, false, false, true, true,
-      false)), (String ((Ascii (false, true, true, true, false, true, true,
-      false)), (String ((Ascii (false, false, true, false, false, true, true,
-      false)), (String ((Ascii (true, false, false, false, false, true, true,
-      false)), (String ((Ascii (true, false, false, true, false, false, true,
-      false)), (String ((Ascii (false, true, true, true, false, true, true,
-      false)), (String ((Ascii (false, true, true, false, false, true, true,
-      false)), (String ((Ascii (true, true, true, true, false, true, true,
-      false)), (String ((Ascii (false, true, false, false, true, true, true,
-      false)), (String ((Ascii (true, false, true, true, false, true, true,
-      false)), (String ((Ascii (true, false, false, false, false, true, true,
-      false)), (String ((Ascii (false, false, true, false, true, true, true,
-      false)), (String ((Ascii (true, false, false, true, false, true, true,
-      false)), (String ((Ascii (true, true, true, true, false, true, true,
-      false)), (String ((Ascii (false, true, true, true, false, true, true,
-      false)), EmptyString)))))))))))))))))))))))))))))))))))) []) :: (
-    (mkcut (S (S (S (S (S (S (S (S (S (S (S (S (S (S (S (S (S (S (S (S (S (S
-      (S (S (S (S (S (S (S (S (S (S (S (S (S (S (S (S (S (S (S (S (S (S (S (S
-      (S (S (S (S (S (S (S (S (S (S (S (S (S (S (S (S (S (S (S (S (S (S (S (S
-      (S (S (S (S (S (S (S (S (S
-      O)))))))))))))))))))))))))))))))))))))))))))))))))))))))))))))))))))))))))))))))
-      (S (S (S (S (S (S (S (S (S (S (S (S (S (S (S (S (S (S (S (S (S (S (S (S
-      (S (S (S (S (S (S (S (S (S (S (S (S (S (S (S (S (S (S (S (S (S (S (S (S
-      (S (S (S (S (S (S (S (S (S (S (S (S (S (S (S (S (S (S (S (S (S (S (S (S
-      (S (S (S (S (S (S (S (S (S (S (S (S (S (S (S (S (S (S (S (S (S (S
-      O))))))))))))))))))))))))))))))))))))))))))))))))))))))))))))))))))))))))))))))))))))))))))))))
-      (String ((Ascii (false, false, true, false, true, false, true, false)),
-      (String ((Ascii (false, true, false, false, true, true, true, false)),
-      (String ((Ascii (true, false, false, false, false, true, true, false)),
-      (String ((Ascii (true, true, false, false, false, true, true, false)),
-      (String ((Ascii (true, false, true, false, false, true, true, false)),
-      (String ((Ascii (false, true, true, true, false, false, true, false)),
-      (String ((Ascii (true, false, true, false, true, true, true, false)),
-      (String ((Ascii (true, false, true, true, false, true, true, false)),
-      (String ((Ascii (false, true, false, false, false, true, true, false)),
-      (String ((Ascii (true, false, true, false, false, true, true, false)),
-      (String ((Ascii (false, true, false, false, true, true, true, false)),
-      EmptyString)))))))))))))))))))))) ((String ((Ascii (true, true, false,
-      false, true, true, true, false)), (String ((Ascii (false, false, true,
-      false, true, true, true, false)), (String ((Ascii (false, true, false,
-      false, true, true, true, false)), (String ((Ascii (true, false, false,
-      true, false, true, true, false)), (String ((Ascii (false, true, true,
-      true, false, true, true, false)), (String ((Ascii (true, true, true,
-      false, false, true, true, false)), (String ((Ascii (true, true, false,
-      false, true, true, true, false)), (String ((Ascii (false, true, true,
-      true, false, true, false, false)), (String ((Ascii (false, false, true,
-      false, true, false, true, false)), (String ((Ascii (false, true, false,
-      false, true, true, true, false)), (String ((Ascii (true, false, false,
-      true, false, true, true, false)), (String ((Ascii (true, false, true,
-      true, false, true, true, false)), (String ((Ascii (true, true, false,
-      false, true, false, true, false)), (String ((Ascii (false, false,
-      false, false, true, true, true, false)), (String ((Ascii (true, false,
-      false, false, false, true, true, false)), (String ((Ascii (true, true,
-      false, false, false, true, true, false)), (String ((Ascii (true, false,
-      true, false, false, true, true, false)),
-      EmptyString)))))))))))))))))))))))))))))))))) :: [])) :: [])))))))) }
+let preview_size =
+  Npos (XO (XO (XO (XO (XO (XO (XO (XO (XO (XO XH))))))))))
 
-(** val l_Addenda99Contested : layout **)
+type rpolicy = { r_ctor : handler; r_scan : handler }
 
-let l_Addenda99Contested =
-  { l_name = (String ((Ascii (true, false, false, false, false, false, true,
-    false)), (String ((Ascii (false, false, true, false, false, true, true,
-    false)), (String ((Ascii (false, false, true, false, false, true, true,
-    false)), (String ((Ascii (true, false, true, false, false, true, true,
-    false)), (String ((Ascii (false, true, true, true, false, true, true,
-    false)), (String ((Ascii (false, false, true, false, false, true, true,
-    false)), (String ((Ascii (true, false, false, false, false, true, true,
-    false)), (String ((Ascii (true, false, false, true, true, true, false,
-    false)), (String ((Ascii (true, false, false, true, true, true, false,
-    false)), (String ((Ascii (true, true, false, false, false, false, true,
-    false)), (String ((Ascii (true, true, true, true, false, true, true,
-    false)), (String ((Ascii (false, true, true, true, false, true, true,
-    false)), (String ((Ascii (false, false, true, false, true, true, true,
-    false)), (String ((Ascii (true, false, true, false, false, true, true,
-    false)), (String ((Ascii (true, true, false, false, true, true, true,
-    false)), (String ((Ascii (false, false, true, false, true, true, true,
-    false)), (String ((Ascii (true, false, true, false, false, true, true,
-    false)), (String ((Ascii (false, false, true, false, false, true, true,
-    false)), EmptyString)))))))))))))))))))))))))))))))))))); l_ix = IRune;
-    l_segs = ((SLit ((Npos (XI (XI (XI (XO (XI XH)))))) :: [])) :: ((SRaw
-    (String ((Ascii (false, false, true, false, true, false, true, false)),
-    (String ((Ascii (true, false, false, true, true, true, true, false)),
-    (String ((Ascii (false, false, false, false, true, true, true, false)),
-    (String ((Ascii (true, false, true, false, false, true, true, false)),
-    (String ((Ascii (true, true, false, false, false, false, true, false)),
-    (String ((Ascii (true, true, true, true, false, true, true, false)),
-    (String ((Ascii (false, false, true, false, false, true, true, false)),
-    (String ((Ascii (true, false, true, false, false, true, true, false)),
-    EmptyString))))))))))))))))) :: ((SStr ((String ((Ascii (true, true,
-    false, false, false, false, true, false)), (String ((Ascii (true, true,
-    true, true, false, true, true, false)), (String ((Ascii (false, true,
-    true, true, false, true, true, false)), (String ((Ascii (false, false,
-    true, false, true, true, true, false)), (String ((Ascii (true, false,
-    true, false, false, true, true, false)), (String ((Ascii (true, true,
-    false, false, true, true, true, false)), (String ((Ascii (false, false,
-    true, false, true, true, true, false)), (String ((Ascii (true, false,
-    true, false, false, true, true, false)), (String ((Ascii (false, false,
-    true, false, false, true, true, false)), (String ((Ascii (false, true,
-    false, false, true, false, true, false)), (String ((Ascii (true, false,
-    true, false, false, true, true, false)), (String ((Ascii (false, false,
-    true, false, true, true, true, false)), (String ((Ascii (true, false,
-    true, false, true, true, true, false)), (String ((Ascii (false, true,
-    false, false, true, true, true, false)), (String ((Ascii (false, true,
-    true, true, false, true, true, false)), (String ((Ascii (true, true,
-    false, false, false, false, true, false)), (String ((Ascii (true, true,
-    true, true, false, true, true, false)), (String ((Ascii (false, false,
-    true, false, false, true, true, false)), (String ((Ascii (true, false,
-    true, false, false, true, true, false)),
-    EmptyString)))))))))))))))))))))))))))))))))))))), (S (S (S
-    O))))) :: ((SStr ((String ((Ascii (true, true, true, true, false, false,
-    true, false)), (String ((Ascii (false, true, false, false, true, true,
-    true, false)), (String ((Ascii (true, false, false, true, false, true,
-    true, false)), (String ((Ascii (true, true, true, false, false, true,
-    true, false)), (String ((Ascii (true, false, false, true, false, true,
-    true, false)), (String ((Ascii (false, true, true, true, false, true,
-    true, false)), (String ((Ascii (true, false, false, false, false, true,
-    true, false)), (String ((Ascii (false, false, true, true, false, true,
-    true, false)), (String ((Ascii (true, false, true, false, false, false,
-    true, false)), (String ((Ascii (false, true, true, true, false, true,
-    true, false)), (String ((Ascii (false, false, true, false, true, true,
-    true, false)), (String ((Ascii (false, true, false, false, true, true,
-    true, false)), (String ((Ascii (true, false, false, true, true, true,
-    true, false)), (String ((Ascii (false, false, true, false, true, false,
-    true, false)), (String ((Ascii (false, true, false, false, true, true,
-    true, false)), (String ((Ascii (true, false, false, false, false, true,
-    true, false)), (String ((Ascii (true, true, false, false, false, true,
-    true, false)), (String ((Ascii (true, false, true, false, false, true,
-    true, false)), (String ((Ascii (false, true, true, true, false, false,
-    true, false)), (String ((Ascii (true, false, true, false, true, true,
-    true, false)), (String ((Ascii (true, false, true, true, false, true,
-    true, false)), (String ((Ascii (false, true, false, false, false, true,
-    true, false)), (String ((Ascii (true, false, true, false, false, true,
-    true, false)), (String ((Ascii (false, true, false, false, true, true,
-    true, false)),
-    EmptyString)))))))))))))))))))))))))))))))))))))))))))))))), (S (S (S (S
-    (S (S (S (S (S (S (S (S (S (S (S O))))))))))))))))) :: ((SStr ((String
-    ((Ascii (false, false, true, false, false, false, true, false)), (String
-    ((Ascii (true, false, false, false, false, true, true, false)), (String
-    ((Ascii (false, false, true, false, true, true, true, false)), (String
-    ((Ascii (true, false, true, false, false, true, true, false)), (String
-    ((Ascii (true, true, true, true, false, false, true, false)), (String
-    ((Ascii (false, true, false, false, true, true, true, false)), (String
-    ((Ascii (true, false, false, true, false, true, true, false)), (String
-    ((Ascii (true, true, true, false, false, true, true, false)), (String
-    ((Ascii (true, false, false, true, false, true, true, false)), (String
-    ((Ascii (false, true, true, true, false, true, true, false)), (String
-    ((Ascii (true, false, false, false, false, true, true, false)), (String
-    ((Ascii (false, false, true, true, false, true, true, false)), (String
-    ((Ascii (true, false, true, false, false, false, true, false)), (String
-    ((Ascii (false, true, true, true, false, true, true, false)), (String
-    ((Ascii (false, false, true, false, true, true, true, false)), (String
-    ((Ascii (false, true, false, false, true, true, true, false)), (String
-    ((Ascii (true, false, false, true, true, true, true, false)), (String
-    ((Ascii (false, true, false, false, true, false, true, false)), (String
-    ((Ascii (true, false, true, false, false, true, true, false)), (String
-    ((Ascii (false, false, true, false, true, true, true, false)), (String
-    ((Ascii (true, false, true, false, true, true, true, false)), (String
-    ((Ascii (false, true, false, false, true, true, true, false)), (String
-    ((Ascii (false, true, true, true, false, true, true, false)), (String
-    ((Ascii (true, false, true, false, false, true, true, false)), (String
-    ((Ascii (false, false, true, false, false, true, true, false)),
-    EmptyString)))))))))))))))))))))))))))))))))))))))))))))))))), (S (S (S
-    (S (S (S O)))))))) :: ((SStr ((String ((Ascii (true, true, true, true,
-    false, false, true, false)), (String ((Ascii (false, true, false, false,
-    true, true, true, false)), (String ((Ascii (true, false, false, true,
-    false, true, true, false)), (String ((Ascii (true, true, true, false,
-    false, true, true, false)), (String ((Ascii (true, false, false, true,
-    false, true, true, false)), (String ((Ascii (false, true, true, true,
-    false, true, true, false)), (String ((Ascii (true, false, false, false,
-    false, true, true, false)), (String ((Ascii (false, false, true, true,
-    false, true, true, false)), (String ((Ascii (false, true, false, false,
-    true, false, true, false)), (String ((Ascii (true, false, true, false,
-    false, true, true, false)), (String ((Ascii (true, true, false, false,
-    false, true, true, false)), (String ((Ascii (true, false, true, false,
-    false, true, true, false)), (String ((Ascii (true, false, false, true,
-    false, true, true, false)), (String ((Ascii (false, true, true, false,
-    true, true, true, false)), (String ((Ascii (true, false, false, true,
-    false, true, true, false)), (String ((Ascii (false, true, true, true,
-    false, true, true, false)), (String ((Ascii (true, true, true, false,
-    false, true, true, false)), (String ((Ascii (false, false, true, false,
-    false, false, true, false)), (String ((Ascii (false, true, true, false,
-    false, false, true, false)), (String ((Ascii (true, false, false, true,
-    false, false, true, false)), (String ((Ascii (true, false, false, true,
-    false, false, true, false)), (String ((Ascii (false, false, true, false,
-    false, true, true, false)), (String ((Ascii (true, false, true, false,
-    false, true, true, false)), (String ((Ascii (false, true, true, true,
-    false, true, true, false)), (String ((Ascii (false, false, true, false,
-    true, true, true, false)), (String ((Ascii (true, false, false, true,
-    false, true, true, false)), (String ((Ascii (false, true, true, false,
-    false, true, true, false)), (String ((Ascii (true, false, false, true,
-    false, true, true, false)), (String ((Ascii (true, true, false, false,
-    false, true, true, false)), (String ((Ascii (true, false, false, false,
-    false, true, true, false)), (String ((Ascii (false, false, true, false,
-    true, true, true, false)), (String ((Ascii (true, false, false, true,
-    false, true, true, false)), (String ((Ascii (true, true, true, true,
-    false, true, true, false)), (String ((Ascii (false, true, true, true,
-    false, true, true, false)),
-    EmptyString)))))))))))))))))))))))))))))))))))))))))))))))))))))))))))))))))))),
-    (S (S (S (S (S (S (S (S O)))))))))) :: ((SStr ((String ((Ascii (true,
-    true, true, true, false, false, true, false)), (String ((Ascii (false,
-    true, false, false, true, true, true, false)), (String ((Ascii (true,
-    false, false, true, false, true, true, false)), (String ((Ascii (true,
-    true, true, false, false, true, true, false)), (String ((Ascii (true,
-    false, false, true, false, true, true, false)), (String ((Ascii (false,
-    true, true, true, false, true, true, false)), (String ((Ascii (true,
-    false, false, false, false, true, true, false)), (String ((Ascii (false,
-    false, true, true, false, true, true, false)), (String ((Ascii (true,
-    true, false, false, true, false, true, false)), (String ((Ascii (true,
-    false, true, false, false, true, true, false)), (String ((Ascii (false,
-    false, true, false, true, true, true, false)), (String ((Ascii (false,
-    false, true, false, true, true, true, false)), (String ((Ascii (false,
-    false, true, true, false, true, true, false)), (String ((Ascii (true,
-    false, true, false, false, true, true, false)), (String ((Ascii (true,
-    false, true, true, false, true, true, false)), (String ((Ascii (true,
-    false, true, false, false, true, true, false)), (String ((Ascii (false,
-    true, true, true, false, true, true, false)), (String ((Ascii (false,
-    false, true, false, true, true, true, false)), (String ((Ascii (false,
-    false, true, false, false, false, true, false)), (String ((Ascii (true,
-    false, false, false, false, true, true, false)), (String ((Ascii (false,
-    false, true, false, true, true, true, false)), (String ((Ascii (true,
-    false, true, false, false, true, true, false)),
-    EmptyString)))))))))))))))))))))))))))))))))))))))))))), (S (S (S
-    O))))) :: ((SStr ((String ((Ascii (false, true, false, false, true,
-    false, true, false)), (String ((Ascii (true, false, true, false, false,
-    true, true, false)), (String ((Ascii (false, false, true, false, true,
-    true, true, false)), (String ((Ascii (true, false, true, false, true,
-    true, true, false)), (String ((Ascii (false, true, false, false, true,
-    true, true, false)), (String ((Ascii (false, true, true, true, false,
-    true, true, false)), (String ((Ascii (false, false, true, false, true,
-    false, true, false)), (String ((Ascii (false, true, false, false, true,
-    true, true, false)), (String ((Ascii (true, false, false, false, false,
-    true, true, false)), (String ((Ascii (true, true, false, false, false,
-    true, true, false)), (String ((Ascii (true, false, true, false, false,
-    true, true, false)), (String ((Ascii (false, true, true, true, false,
-    false, true, false)), (String ((Ascii (true, false, true, false, true,
-    true, true, false)), (String ((Ascii (true, false, true, true, false,
-    true, true, false)), (String ((Ascii (false, true, false, false, false,
-    true, true, false)), (String ((Ascii (true, false, true, false, false,
-    true, true, false)), (String ((Ascii (false, true, false, false, true,
-    true, true, false)), EmptyString)))))))))))))))))))))))))))))))))), (S (S
-    (S (S (S (S (S (S (S (S (S (S (S (S (S O))))))))))))))))) :: ((SStr
-    ((String ((Ascii (false, true, false, false, true, false, true, false)),
-    (String ((Ascii (true, false, true, false, false, true, true, false)),
-    (String ((Ascii (false, false, true, false, true, true, true, false)),
-    (String ((Ascii (true, false, true, false, true, true, true, false)),
-    (String ((Ascii (false, true, false, false, true, true, true, false)),
-    (String ((Ascii (false, true, true, true, false, true, true, false)),
-    (String ((Ascii (true, true, false, false, true, false, true, false)),
-    (String ((Ascii (true, false, true, false, false, true, true, false)),
-    (String ((Ascii (false, false, true, false, true, true, true, false)),
-    (String ((Ascii (false, false, true, false, true, true, true, false)),
-    (String ((Ascii (false, false, true, true, false, true, true, false)),
-    (String ((Ascii (true, false, true, false, false, true, true, false)),
-    (String ((Ascii (true, false, true, true, false, true, true, false)),
-    (String ((Ascii (true, false, true, false, false, true, true, false)),
-    (String ((Ascii (false, true, true, true, false, true, true, false)),
-    (String ((Ascii (false, false, true, false, true, true, true, false)),
-    (String ((Ascii (false, false, true, false, false, false, true, false)),
-    (String ((Ascii (true, false, false, false, false, true, true, false)),
-    (String ((Ascii (false, false, true, false, true, true, true, false)),
-    (String ((Ascii (true, false, true, false, false, true, true, false)),
-    EmptyString)))))))))))))))))))))))))))))))))))))))), (S (S (S
-    O))))) :: ((SStr ((String ((Ascii (false, true, false, false, true,
-    false, true, false)), (String ((Ascii (true, false, true, false, false,
-    true, true, false)), (String ((Ascii (false, false, true, false, true,
-    true, true, false)), (String ((Ascii (true, false, true, false, true,
-    true, true, false)), (String ((Ascii (false, true, false, false, true,
-    true, true, false)), (String ((Ascii (false, true, true, true, false,
-    true, true, false)), (String ((Ascii (false, true, false, false, true,
-    false, true, false)), (String ((Ascii (true, false, true, false, false,
-    true, true, false)), (String ((Ascii (true, false, false, false, false,
-    true, true, false)), (String ((Ascii (true, true, false, false, true,
-    true, true, false)), (String ((Ascii (true, true, true, true, false,
-    true, true, false)), (String ((Ascii (false, true, true, true, false,
-    true, true, false)), (String ((Ascii (true, true, false, false, false,
-    false, true, false)), (String ((Ascii (true, true, true, true, false,
-    true, true, false)), (String ((Ascii (false, false, true, false, false,
-    true, true, false)), (String ((Ascii (true, false, true, false, false,
-    true, true, false)), EmptyString)))))))))))))))))))))))))))))))), (S (S
-    O)))) :: ((SStr ((String ((Ascii (false, false, true, false, false,
-    false, true, false)), (String ((Ascii (true, false, false, true, false,
-    true, true, false)), (String ((Ascii (true, true, false, false, true,
-    true, true, false)), (String ((Ascii (false, false, false, true, false,
-    true, true, false)), (String ((Ascii (true, true, true, true, false,
-    true, true, false)), (String ((Ascii (false, true, true, true, false,
-    true, true, false)), (String ((Ascii (true, true, true, true, false,
-    true, true, false)), (String ((Ascii (false, true, false, false, true,
-    true, true, false)), (String ((Ascii (true, false, true, false, false,
-    true, true, false)), (String ((Ascii (false, false, true, false, false,
-    true, true, false)), (String ((Ascii (false, true, false, false, true,
-    false, true, false)), (String ((Ascii (true, false, true, false, false,
-    true, true, false)), (String ((Ascii (false, false, true, false, true,
-    true, true, false)), (String ((Ascii (true, false, true, false, true,
-    true, true, false)), (String ((Ascii (false, true, false, false, true,
-    true, true, false)), (String ((Ascii (false, true, true, true, false,
-    true, true, false)), (String ((Ascii (false, false, true, false, true,
-    false, true, false)), (String ((Ascii (false, true, false, false, true,
-    true, true, false)), (String ((Ascii (true, false, false, false, false,
-    true, true, false)), (String ((Ascii (true, true, false, false, false,
-    true, true, false)), (String ((Ascii (true, false, true, false, false,
-    true, true, false)), (String ((Ascii (false, true, true, true, false,
-    false, true, false)), (String ((Ascii (true, false, true, false, true,
-    true, true, false)), (String ((Ascii (true, false, true, true, false,
-    true, true, false)), (String ((Ascii (false, true, false, false, false,
-    true, true, false)), (String ((Ascii (true, false, true, false, false,
-    true, true, false)), (String ((Ascii (false, true, false, false, true,
-    true, true, false)),
-    EmptyString)))))))))))))))))))))))))))))))))))))))))))))))))))))), (S (S
-    (S (S (S (S (S (S (S (S (S (S (S (S (S O))))))))))))))))) :: ((SStr
-    ((String ((Ascii (false, false, true, false, false, false, true, false)),
-    (String ((Ascii (true, false, false, true, false, true, true, false)),
-    (String ((Ascii (true, true, false, false, true, true, true, false)),
-    (String ((Ascii (false, false, false, true, false, true, true, false)),
-    (String ((Ascii (true, true, true, true, false, true, true, false)),
-    (String ((Ascii (false, true, true, true, false, true, true, false)),
-    (String ((Ascii (true, true, true, true, false, true, true, false)),
-    (String ((Ascii (false, true, false, false, true, true, true, false)),
-    (String ((Ascii (true, false, true, false, false, true, true, false)),
-    (String ((Ascii (false, false, true, false, false, true, true, false)),
-    (String ((Ascii (false, true, false, false, true, false, true, false)),
-    (String ((Ascii (true, false, true, false, false, true, true, false)),
-    (String ((Ascii (false, false, true, false, true, true, true, false)),
-    (String ((Ascii (true, false, true, false, true, true, true, false)),
-    (String ((Ascii (false, true, false, false, true, true, true, false)),
-    (String ((Ascii (false, true, true, true, false, true, true, false)),
-    (String ((Ascii (true, true, false, false, true, false, true, false)),
-    (String ((Ascii (true, false, true, false, false, true, true, false)),
-    (String ((Ascii (false, false, true, false, true, true, true, false)),
-    (String ((Ascii (false, false, true, false, true, true, true, false)),
-    (String ((Ascii (false, false, true, true, false, true, true, false)),
-    (String ((Ascii (true, false, true, false, false, true, true, false)),
-    (String ((Ascii (true, false, true, true, false, true, true, false)),
-    (String ((Ascii (true, false, true, false, false, true, true, false)),
-    (String ((Ascii (false, true, true, true, false, true, true, false)),
-    (String ((Ascii (false, false, true, false, true, true, true, false)),
-    (String ((Ascii (false, false, true, false, false, false, true, false)),
-    (String ((Ascii (true, false, false, false, false, true, true, false)),
-    (String ((Ascii (false, false, true, false, true, true, true, false)),
-    (String ((Ascii (true, false, true, false, false, true, true, false)),
-    EmptyString)))))))))))))))))))))))))))))))))))))))))))))))))))))))))))),
-    (S (S (S O))))) :: ((SStr ((String ((Ascii (false, false, true, false,
-    false, false, true, false)), (String ((Ascii (true, false, false, true,
-    false, true, true, false)), (String ((Ascii (true, true, false, false,
-    true, true, true, false)), (String ((Ascii (false, false, false, true,
-    false, true, true, false)), (String ((Ascii (true, true, true, true,
-    false, true, true, false)), (String ((Ascii (false, true, true, true,
-    false, true, true, false)), (String ((Ascii (true, true, true, true,
-    false, true, true, false)), (String ((Ascii (false, true, false, false,
-    true, true, true, false)), (String ((Ascii (true, false, true, false,
-    false, true, true, false)), (String ((Ascii (false, false, true, false,
-    false, true, true, false)), (String ((Ascii (false, true, false, false,
-    true, false, true, false)), (String ((Ascii (true, false, true, false,
-    false, true, true, false)), (String ((Ascii (false, false, true, false,
-    true, true, true, false)), (String ((Ascii (true, false, true, false,
-    true, true, true, false)), (String ((Ascii (false, true, false, false,
-    true, true, true, false)), (String ((Ascii (false, true, true, true,
-    false, true, true, false)), (String ((Ascii (false, true, false, false,
-    true, false, true, false)), (String ((Ascii (true, false, true, false,
-    false, true, true, false)), (String ((Ascii (true, false, false, false,
-    false, true, true, false)), (String ((Ascii (true, true, false, false,
-    true, true, true, false)), (String ((Ascii (true, true, true, true,
-    false, true, true, false)), (String ((Ascii (false, true, true, true,
-    false, true, true, false)), (String ((Ascii (true, true, false, false,
-    false, false, true, false)), (String ((Ascii (true, true, true, true,
-    false, true, true, false)), (String ((Ascii (false, false, true, false,
-    false, true, true, false)), (String ((Ascii (true, false, true, false,
-    false, true, true, false)),
-    EmptyString)))))))))))))))))))))))))))))))))))))))))))))))))))), (S (S
-    O)))) :: ((SLit ((Npos (XO (XO (XO (XO (XO XH)))))) :: [])) :: ((SStr
-    ((String ((Ascii (false, false, true, false, true, false, true, false)),
-    (String ((Ascii (false, true, false, false, true, true, true, false)),
-    (String ((Ascii (true, false, false, false, false, true, true, false)),
-    (String ((Ascii (true, true, false, false, false, true, true, false)),
-    (String ((Ascii (true, false, true, false, false, true, true, false)),
-    (String ((Ascii (false, true, true, true, false, false, true, false)),
-    (String ((Ascii (true, false, true, false, true, true, true, false)),
-    (String ((Ascii (true, false, true, true, false, true, true, false)),
-    (String ((Ascii (false, true, false, false, false, true, true, false)),
-    (String ((Ascii (true, false, true, false, false, true, true, false)),
-    (String ((Ascii (false, true, false, false, true, true, true, false)),
-    EmptyString)))))))))))))))))))))), (S (S (S (S (S (S (S (S (S (S (S (S (S
-    (S (S O))))))))))))))))) :: []))))))))))))))); l_cuts =
-    ((mkcut O (S O) EmptyString []) :: ((mkcut (S O) (S (S (S O))) (String
-                                          ((Ascii (false, false, true, false,
-                                          true, false, true, false)), (String
-                                          ((Ascii (true, false, false, true,
-                                          true, true, true, false)), (String
-                                          ((Ascii (false, false, false,
-                                          false, true, true, true, false)),
-                                          (String ((Ascii (true, false, true,
-                                          false, false, true, true, false)),
-                                          (String ((Ascii (true, true, false,
-                                          false, false, false, true, false)),
-                                          (String ((Ascii (true, true, true,
-                                          true, false, true, true, false)),
-                                          (String ((Ascii (false, false,
-                                          true, false, false, true, true,
-                                          false)), (String ((Ascii (true,
-                                          false, true, false, false, true,
-                                          true, false)),
-                                          EmptyString)))))))))))))))) []) :: (
-    (mkcut (S (S (S O))) (S (S (S (S (S (S O)))))) (String ((Ascii (true,
-      true, false, false, false, false, true, false)), (String ((Ascii (true,
-      true, true, true, false, true, true, false)), (String ((Ascii (false,
-      true, true, true, false, true, true, false)), (String ((Ascii (false,
-      false, true, false, true, true, true, false)), (String ((Ascii (true,
-      false, true, false, false, true, true, false)), (String ((Ascii (true,
-      true, false, false, true, true, true, false)), (String ((Ascii (false,
-      false, true, false, true, true, true, false)), (String ((Ascii (true,
-      false, true, false, false, true, true, false)), (String ((Ascii (false,
-      false, true, false, false, true, true, false)), (String ((Ascii (false,
-      true, false, false, true, false, true, false)), (String ((Ascii (true,
-      false, true, false, false, true, true, false)), (String ((Ascii (false,
-      false, true, false, true, true, true, false)), (String ((Ascii (true,
-      false, true, false, true, true, true, false)), (String ((Ascii (false,
-      true, false, false, true, true, true, false)), (String ((Ascii (false,
-      true, true, true, false, true, true, false)), (String ((Ascii (true,
-      true, false, false, false, false, true, false)), (String ((Ascii (true,
-      true, true, true, false, true, true, false)), (String ((Ascii (false,
-      false, true, false, false, true, true, false)), (String ((Ascii (true,
-      false, true, false, false, true, true, false)),
-      EmptyString)))))))))))))))))))))))))))))))))))))) []) :: ((mkcut (S (S
-                                                                  (S (S (S (S
-                                                                  O)))))) (S
-                                                                  (S (S (S (S
-                                                                  (S (S (S (S
-                                                                  (S (S (S (S
-                                                                  (S (S (S (S
-                                                                  (S (S (S (S
-                                                                  O)))))))))))))))))))))
-                                                                  (String
-                                                                  ((Ascii
-                                                                  (true,
-                                                                  true, true,
-                                                                  true,
-                                                                  false,
-                                                                  false,
-                                                                  true,
-                                                                  false)),
-                                                                  (String
-                                                                  ((Ascii
-                                                                  (false,
-                                                                  true,
-                                                                  false,
-                                                                  false,
-                                                                  true, true,
-                                                                  true,
-                                                                  false)),
-                                                                  (String
-                                                                  ((Ascii
-                                                                  (true,
-                                                                  false,
-                                                                  false,
-                                                                  true,
-                                                                  false,
-                                                                  true, true,
-                                                                  false)),
-                                                                  (String
-                                                                  ((Ascii
-                                                                  (true,
-                                                                  true, true,
-                                                                  false,
-                                                                  false,
-                                                                  true, true,
-                                                                  false)),
-                                                                  (String
-                                                                  ((Ascii
-                                                                  (true,
-                                                                  false,
-                                                                  false,
-                                                                  true,
-                                                                  false,
-                                                                  true, true,
-                                                                  false)),
-                                                                  (String
-                                                                  ((Ascii
-                                                                  (false,
-                                                                  true, true,
-                                                                  true,
-                                                                  false,
-                                                                  true, true,
-                                                                  false)),
-                                                                  (String
-                                                                  ((Ascii
-                                                                  (true,
-                                                                  false,
-                                                                  false,
-                                                                  false,
-                                                                  false,
-                                                                  true, true,
-                                                                  false)),
-                                                                  (String
-                                                                  ((Ascii
-                                                                  (false,
-                                                                  false,
-                                                                  true, true,
-                                                                  false,
-                                                                  true, true,
-                                                                  false)),
-                                                                  (String
-                                                                  ((Ascii
-                                                                  (true,
-                                                                  false,
-                                                                  true,
-                                                                  false,
-                                                                  false,
-                                                                  false,
-                                                                  true,
-                                                                  false)),
-                                                                  (String
-                                                                  ((Ascii
-                                                                  (false,
-                                                                  true, true,
-                                                                  true,
-                                                                  false,
-                                                                  true, true,
-                                                                  false)),
-                                                                  (String
-                                                                  ((Ascii
-                                                                  (false,
-                                                                  false,
-                                                                  true,
-                                                                  false,
-                                                                  true, true,
-                                                                  true,
-                                                                  false)),
-                                                                  (String
-                                                                  ((Ascii
-                                                                  (false,
-                                                                  true,
-                                                                  false,
-                                                                  false,
-                                                                  true, true,
-                                                                  true,
-                                                                  false)),
-                                                                  (String
-                                                                  ((Ascii
-                                                                  (true,
-                                                                  false,
-                                                                  false,
-                                                                  true, true,
-                                                                  true, true,
-                                                                  false)),
-                                                                  (String
-                                                                  ((Ascii
-                                                                  (false,
-                                                                  false,
-                                                                  true,
-                                                                  false,
-                                                                  true,
-                                                                  false,
-                                                                  true,
-                                                                  false)),
-                                                                  (String
-                                                                  ((Ascii
-                                                                  (false,
-                                                                  true,
-                                                                  false,
-                                                                  false,
-                                                                  true, true,
-                                                                  true,
-                                                                  false)),
-                                                                  (String
-                                                                  ((Ascii
-                                                                  (true,
-                                                                  false,
-                                                                  false,
-                                                                  false,
-                                                                  false,
-                                                                  true, true,
-                                                                  false)),
-                                                                  (String
-                                                                  ((Ascii
-                                                                  (true,
-                                                                  true,
-                                                                  false,
-                                                                  false,
-                                                                  false,
-                                                                  true, true,
-                                                                  false)),
-                                                                  (String
-                                                                  ((Ascii
-                                                                  (true,
-                                                                  false,
-                                                                  true,
-                                                                  false,
-                                                                  false,
-                                                                  true, true,
-                                                                  false)),
-                                                                  (String
-                                                                  ((Ascii
-                                                                  (false,
-                                                                  true, true,
-                                                                  true,
-                                                                  false,
-                                                                  false,
-                                                                  true,
-                                                                  false)),
-                                                                  (String
-                                                                  ((Ascii
-                                                                  (true,
-                                                                  false,
-                                                                  true,
-                                                                  false,
-                                                                  true, true,
-                                                                  true,
-                                                                  false)),
-                                                                  (String
-                                                                  ((Ascii
-                                                                  (true,
-                                                                  false,
-                                                                  true, true,
-                                                                  false,
-                                                                  true, true,
-                                                                  false)),
-                                                                  (String
-                                                                  ((Ascii
-                                                                  (false,
-                                                                  true,
-                                                                  false,
-                                                                  false,
-                                                                  false,
-                                                                  true, true,
-                                                                  false)),
-                                                                  (String
-                                                                  ((Ascii
-                                                                  (true,
-                                                                  false,
-                                                                  true,
-                                                                  false,
-                                                                  false,
-                                                                  true, true,
-                                                                  false)),
-                                                                  (String
-                                                                  ((Ascii
-                                                                  (false,
-                                                                  true,
-                                                                  false,
-                                                                  false,
-                                                                  true, true,
-                                                                  true,
-                                                                  false)),
-                                                                  EmptyString))))))))))))))))))))))))))))))))))))))))))))))))
-                                                                  []) :: (
-    (mkcut (S (S (S (S (S (S (S (S (S (S (S (S (S (S (S (S (S (S (S (S (S
-      O))))))))))))))))))))) (S (S (S (S (S (S (S (S (S (S (S (S (S (S (S (S
-      (S (S (S (S (S (S (S (S (S (S (S O))))))))))))))))))))))))))) (String
-      ((Ascii (false, false, true, false, false, false, true, false)),
-      (String ((Ascii (true, false, false, false, false, true, true, false)),
-      (String ((Ascii (false, false, true, false, true, true, true, false)),
-      (String ((Ascii (true, false, true, false, false, true, true, false)),
-      (String ((Ascii (true, true, true, true, false, false, true, false)),
-      (String ((Ascii (false, true, false, false, true, true, true, false)),
-      (String ((Ascii (true, false, false, true, false, true, true, false)),
-      (String ((Ascii (true, true, true, false, false, true, true, false)),
-      (String ((Ascii (true, false, false, true, false, true, true, false)),
-      (String ((Ascii (false, true, true, true, false, true, true, false)),
-      (String ((Ascii (true, false, false, false, false, true, true, false)),
-      (String ((Ascii (false, false, true, true, false, true, true, false)),
-      (String ((Ascii (true, false, true, false, false, false, true, false)),
-      (String ((Ascii (false, true, true, true, false, true, true, false)),
-      (String ((Ascii (false, false, true, false, true, true, true, false)),
-      (String ((Ascii (false, true, false, false, true, true, true, false)),
-      (String ((Ascii (true, false, false, true, true, true, true, false)),
-      (String ((Ascii (false, true, false, false, true, false, true, false)),
-      (String ((Ascii (true, false, true, false, false, true, true, false)),
-      (String ((Ascii (false, false, true, false, true, true, true, false)),
-      (String ((Ascii (true, false, true, false, true, true, true, false)),
-      (String ((Ascii (false, true, false, false, true, true, true, false)),
-      (String ((Ascii (false, true, true, true, false, true, true, false)),
-      (String ((Ascii (true, false, true, false, false, true, true, false)),
-      (String ((Ascii (false, false, true, false, false, true, true, false)),
-      EmptyString)))))))))))))))))))))))))))))))))))))))))))))))))) []) :: (
-    (mkcut (S (S (S (S (S (S (S (S (S (S (S (S (S (S (S (S (S (S (S (S (S (S
-      (S (S (S (S (S O))))))))))))))))))))))))))) (S (S (S (S (S (S (S (S (S
-      (S (S (S (S (S (S (S (S (S (S (S (S (S (S (S (S (S (S (S (S (S (S (S (S
-      (S (S O))))))))))))))))))))))))))))))))))) (String ((Ascii (true, true,
-      true, true, false, false, true, false)), (String ((Ascii (false, true,
-      false, false, true, true, true, false)), (String ((Ascii (true, false,
-      false, true, false, true, true, false)), (String ((Ascii (true, true,
-      true, false, false, true, true, false)), (String ((Ascii (true, false,
-      false, true, false, true, true, false)), (String ((Ascii (false, true,
-      true, true, false, true, true, false)), (String ((Ascii (true, false,
-      false, false, false, true, true, false)), (String ((Ascii (false,
-      false, true, true, false, true, true, false)), (String ((Ascii (false,
-      true, false, false, true, false, true, false)), (String ((Ascii (true,
-      false, true, false, false, true, true, false)), (String ((Ascii (true,
-      true, false, false, false, true, true, false)), (String ((Ascii (true,
-      false, true, false, false, true, true, false)), (String ((Ascii (true,
-      false, false, true, false, true, true, false)), (String ((Ascii (false,
-      true, true, false, true, true, true, false)), (String ((Ascii (true,
-      false, false, true, false, true, true, false)), (String ((Ascii (false,
-      true, true, true, false, true, true, false)), (String ((Ascii (true,
-      true, true, false, false, true, true, false)), (String ((Ascii (false,
-      false, true, false, false, false, true, false)), (String ((Ascii
-      (false, true, true, false, false, false, true, false)), (String ((Ascii
-      (true, false, false, true, false, false, true, false)), (String ((Ascii
-      (true, false, false, true, false, false, true, false)), (String ((Ascii
-      (false, false, true, false, false, true, true, false)), (String ((Ascii
-      (true, false, true, false, false, true, true, false)), (String ((Ascii
-      (false, true, true, true, false, true, true, false)), (String ((Ascii
-      (false, false, true, false, true, true, true, false)), (String ((Ascii
-      (true, false, false, true, false, true, true, false)), (String ((Ascii
-      (false, true, true, false, false, true, true, false)), (String ((Ascii
-      (true, false, false, true, false, true, true, false)), (String ((Ascii
-      (true, true, false, false, false, true, true, false)), (String ((Ascii
-      (true, false, false, false, false, true, true, false)), (String ((Ascii
-      (false, false, true, false, true, true, true, false)), (String ((Ascii
-      (true, false, false, true, false, true, true, false)), (String ((Ascii
-      (true, true, true, true, false, true, true, false)), (String ((Ascii
-      (false, true, true, true, false, true, true, false)),
-      EmptyString))))))))))))))))))))))))))))))))))))))))))))))))))))))))))))))))))))
-      []) :: ((mkcut (S (S (S (S (S (S (S (S (S (S (S (S (S (S (S (S (S (S (S
-                (S (S (S (S (S (S (S (S (S (S (S (S (S (S (S (S
-                O))))))))))))))))))))))))))))))))))) (S (S (S (S (S (S (S (S
-                (S (S (S (S (S (S (S (S (S (S (S (S (S (S (S (S (S (S (S (S
-                (S (S (S (S (S (S (S (S (S (S
-                O)))))))))))))))))))))))))))))))))))))) (String ((Ascii
-                (true, true, true, true, false, false, true, false)), (String
-                ((Ascii (false, true, false, false, true, true, true,
-                false)), (String ((Ascii (true, false, false, true, false,
-                true, true, false)), (String ((Ascii (true, true, true,
-                false, false, true, true, false)), (String ((Ascii (true,
-                false, false, true, false, true, true, false)), (String
-                ((Ascii (false, true, true, true, false, true, true, false)),
-                (String ((Ascii (true, false, false, false, false, true,
-                true, false)), (String ((Ascii (false, false, true, true,
-                false, true, true, false)), (String ((Ascii (true, true,
-                false, false, true, false, true, false)), (String ((Ascii
-                (true, false, true, false, false, true, true, false)),
-                (String ((Ascii (false, false, true, false, true, true, true,
-                false)), (String ((Ascii (false, false, true, false, true,
-                true, true, false)), (String ((Ascii (false, false, true,
-                true, false, true, true, false)), (String ((Ascii (true,
-                false, true, false, false, true, true, false)), (String
-                ((Ascii (true, false, true, true, false, true, true, false)),
-                (String ((Ascii (true, false, true, false, false, true, true,
-                false)), (String ((Ascii (false, true, true, true, false,
-                true, true, false)), (String ((Ascii (false, false, true,
-                false, true, true, true, false)), (String ((Ascii (false,
-                false, true, false, false, false, true, false)), (String
-                ((Ascii (true, false, false, false, false, true, true,
-                false)), (String ((Ascii (false, false, true, false, true,
-                true, true, false)), (String ((Ascii (true, false, true,
-                false, false, true, true, false)),
-                EmptyString)))))))))))))))))))))))))))))))))))))))))))) []) :: (
-    (mkcut (S (S (S (S (S (S (S (S (S (S (S (S (S (S (S (S (S (S (S (S (S (S
-      (S (S (S (S (S (S (S (S (S (S (S (S (S (S (S (S
-      O)))))))))))))))))))))))))))))))))))))) (S (S (S (S (S (S (S (S (S (S
-      (S (S (S (S (S (S (S (S (S (S (S (S (S (S (S (S (S (S (S (S (S (S (S (S
-      (S (S (S (S (S (S (S (S (S (S (S (S (S (S (S (S (S (S (S
-      O))))))))))))))))))))))))))))))))))))))))))))))))))))) (String ((Ascii
-      (false, true, false, false, true, false, true, false)), (String ((Ascii
-      (true, false, true, false, false, true, true, false)), (String ((Ascii
-      (false, false, true, false, true, true, true, false)), (String ((Ascii
-      (true, false, true, false, true, true, true, false)), (String ((Ascii
-      (false, true, false, false, true, true, true, false)), (String ((Ascii
-      (false, true, true, true, false, true, true, false)), (String ((Ascii
-      (false, false, true, false, true, false, true, false)), (String ((Ascii
-      (false, true, false, false, true, true, true, false)), (String ((Ascii
-      (true, false, false, false, false, true, true, false)), (String ((Ascii
-      (true, true, false, false, false, true, true, false)), (String ((Ascii
-      (true, false, true, false, false, true, true, false)), (String ((Ascii
-      (false, true, true, true, false, false, true, false)), (String ((Ascii
-      (true, false, true, false, true, true, true, false)), (String ((Ascii
-      (true, false, true, true, false, true, true, false)), (String ((Ascii
-      (false, true, false, false, false, true, true, false)), (String ((Ascii
-      (true, false, true, false, false, true, true, false)), (String ((Ascii
-      (false, true, false, false, true, true, true, false)),
-      EmptyString)))))))))))))))))))))))))))))))))) []) :: ((mkcut (S (S (S
-                                                              (S (S (S (S (S
-                                                              (S (S (S (S (S
-                                                              (S (S (S (S (S
-                                                              (S (S (S (S (S
-                                                              (S (S (S (S (S
-                                                              (S (S (S (S (S
-                                                              (S (S (S (S (S
-                                                              (S (S (S (S (S
-                                                              (S (S (S (S (S
-                                                              (S (S (S (S (S
-                                                              O)))))))))))))))))))))))))))))))))))))))))))))))))))))
-                                                              (S (S (S (S (S
-                                                              (S (S (S (S (S
-                                                              (S (S (S (S (S
-                                                              (S (S (S (S (S
-                                                              (S (S (S (S (S
-                                                              (S (S (S (S (S
-                                                              (S (S (S (S (S
-                                                              (S (S (S (S (S
-                                                              (S (S (S (S (S
-                                                              (S (S (S (S (S
-                                                              (S (S (S (S (S
-                                                              (S
-                                                              O))))))))))))))))))))))))))))))))))))))))))))))))))))))))
-                                                              (String ((Ascii
-                                                              (false, true,
-                                                              false, false,
-                                                              true, false,
-                                                              true, false)),
-                                                              (String ((Ascii
-                                                              (true, false,
-                                                              true, false,
-                                                              false, true,
-                                                              true, false)),
-                                                              (String ((Ascii
-                                                              (false, false,
-                                                              true, false,
-                                                              true, true,
-                                                              true, false)),
-                                                              (String ((Ascii
-                                                              (true, false,
-                                                              true, false,
-                                                              true, true,
-                                                              true, false)),
-                                                              (String ((Ascii
-                                                              (false, true,
-                                                              false, false,
-                                                              true, true,
-                                                              true, false)),
-                                                              (String ((Ascii
-                                                              (false, true,
-                                                              true, true,
-                                                              false, true,
-                                                              true, false)),
-                                                              (String ((Ascii
-                                                              (true, true,
-                                                              false, false,
-                                                              true, false,
-                                                              true, false)),
-                                                              (String ((Ascii
-                                                              (true, false,
-                                                              true, false,
-                                                              false, true,
-                                                              true, false)),
-                                                              (String ((Ascii
-                                                              (false, false,
-                                                              true, false,
-                                                              true, true,
-                                                              true, false)),
-                                                              (String ((Ascii
-                                                              (false, false,
-                                                              true, false,
-                                                              true, true,
-                                                              true, false)),
-                                                              (String ((Ascii
-                                                              (false, false,
-                                                              true, true,
-                                                              false, true,
-                                                              true, false)),
-                                                              (String ((Ascii
-                                                              (true, false,
-                                                              true, false,
-                                                              false, true,
-                                                              true, false)),
-                                                              (String ((Ascii
-                                                              (true, false,
-                                                              true, true,
-                                                              false, true,
-                                                              true, false)),
-                                                              (String ((Ascii
-                                                              (true, false,
-                                                              true, false,
-                                                              false, true,
-                                                              true, false)),
-                                                              (String ((Ascii
-                                                              (false, true,
-                                                              true, true,
-                                                              false, true,
-                                                              true, false)),
-                                                              (String ((Ascii
-                                                              (false, false,
-                                                              true, false,
-                                                              true, true,
-                                                              true, false)),
-                                                              (String ((Ascii
-                                                              (false, false,
-                                                              true, false,
-                                                              false, false,
-                                                              true, false)),
-                                                              (String ((Ascii
-                                                              (true, false,
-                                                              false, false,
-                                                              false, true,
-                                                              true, false)),
-                                                              (String ((Ascii
-                                                              (false, false,
-                                                              true, false,
-                                                              true, true,
-                                                              true, false)),
-                                                              (String ((Ascii
-                                                              (true, false,
-                                                              true, false,
-                                                              false, true,
-                                                              true, false)),
-                                                              EmptyString))))))))))))))))))))))))))))))))))))))))
-                                                              []) :: (
-    (mkcut (S (S (S (S (S (S (S (S (S (S (S (S (S (S (S (S (S (S (S (S (S (S
-      (S (S (S (S (S (S (S (S (S (S (S (S (S (S (S (S (S (S (S (S (S (S (S (S
-      (S (S (S (S (S (S (S (S (S (S
-      O)))))))))))))))))))))))))))))))))))))))))))))))))))))))) (S (S (S (S
-      (S (S (S (S (S (S (S (S (S (S (S (S (S (S (S (S (S (S (S (S (S (S (S (S
-      (S (S (S (S (S (S (S (S (S (S (S (S (S (S (S (S (S (S (S (S (S (S (S (S
-      (S (S (S (S (S (S
-      O)))))))))))))))))))))))))))))))))))))))))))))))))))))))))) (String
-      ((Ascii (false, true, false, false, true, false, true, false)), (String
-      ((Ascii (true, false, true, false, false, true, true, false)), (String
-      ((Ascii (false, false, true, false, true, true, true, false)), (String
-      ((Ascii (true, false, true, false, true, true, true, false)), (String
-      ((Ascii (false, true, false, false, true, true, true, false)), (String
-      ((Ascii (false, true, true, true, false, true, true, false)), (String
-      ((Ascii (false, true, false, false, true, false, true, false)), (String
-      ((Ascii (true, false, true, false, false, true, true, false)), (String
-      ((Ascii (true, false, false, false, false, true, true, false)), (String
-      ((Ascii (true, true, false, false, true, true, true, false)), (String
-      ((Ascii (true, true, true, true, false, true, true, false)), (String
-      ((Ascii (false, true, true, true, false, true, true, false)), (String
-      ((Ascii (true, true, false, false, false, false, true, false)), (String
-      ((Ascii (true, true, true, true, false, true, true, false)), (String
-      ((Ascii (false, false, true, false, false, true, true, false)), (String
-      ((Ascii (true, false, true, false, false, true, true, false)),
-      EmptyString)))))))))))))))))))))))))))))))) []) :: ((mkcut (S (S (S (S
-                                                            (S (S (S (S (S (S
-                                                            (S (S (S (S (S (S
-                                                            (S (S (S (S (S (S
-                                                            (S (S (S (S (S (S
-                                                            (S (S (S (S (S (S
-                                                            (S (S (S (S (S (S
-                                                            (S (S (S (S (S (S
-                                                            (S (S (S (S (S (S
-                                                            (S (S (S (S (S (S
-                                                            O))))))))))))))))))))))))))))))))))))))))))))))))))))))))))
-                                                            (S (S (S (S (S (S
-                                                            (S (S (S (S (S (S
-                                                            (S (S (S (S (S (S
-                                                            (S (S (S (S (S (S
-                                                            (S (S (S (S (S (S
-                                                            (S (S (S (S (S (S
-                                                            (S (S (S (S (S (S
-                                                            (S (S (S (S (S (S
-                                                            (S (S (S (S (S (S
-                                                            (S (S (S (S (S (S
-                                                            (S (S (S (S (S (S
-                                                            (S (S (S (S (S (S
-                                                            (S
-                                                            O)))))))))))))))))))))))))))))))))))))))))))))))))))))))))))))))))))))))))
-                                                            (String ((Ascii
-                                                            (false, false,
-                                                            true, false,
-                                                            false, false,
-                                                            true, false)),
-                                                            (String ((Ascii
-                                                            (true, false,
-                                                            false, true,
-                                                            false, true,
-                                                            true, false)),
-                                                            (String ((Ascii
-                                                            (true, true,
-                                                            false, false,
-                                                            true, true, true,
-                                                            false)), (String
-                                                            ((Ascii (false,
-                                                            false, false,
-                                                            true, false,
-                                                            true, true,
-                                                            false)), (String
-                                                            ((Ascii (true,
-                                                            true, true, true,
-                                                            false, true,
-                                                            true, false)),
-                                                            (String ((Ascii
-                                                            (false, true,
-                                                            true, true,
-                                                            false, true,
-                                                            true, false)),
-                                                            (String ((Ascii
-                                                            (true, true,
-                                                            true, true,
-                                                            false, true,
-                                                            true, false)),
-                                                            (String ((Ascii
-                                                            (false, true,
-                                                            false, false,
-                                                            true, true, true,
-                                                            false)), (String
-                                                            ((Ascii (true,
-                                                            false, true,
-                                                            false, false,
-                                                            true, true,
-                                                            false)), (String
-                                                            ((Ascii (false,
-                                                            false, true,
-                                                            false, false,
-                                                            true, true,
-                                                            false)), (String
-                                                            ((Ascii (false,
-                                                            true, false,
-                                                            false, true,
-                                                            false, true,
-                                                            false)), (String
-                                                            ((Ascii (true,
-                                                            false, true,
-                                                            false, false,
-                                                            true, true,
-                                                            false)), (String
-                                                            ((Ascii (false,
-                                                            false, true,
-                                                            false, true,
-                                                            true, true,
-                                                            false)), (String
-                                                            ((Ascii (true,
-                                                            false, true,
-                                                            false, true,
-                                                            true, true,
-                                                            false)), (String
-                                                            ((Ascii (false,
-                                                            true, false,
-                                                            false, true,
-                                                            true, true,
-                                                            false)), (String
-                                                            ((Ascii (false,
-                                                            true, true, true,
-                                                            false, true,
-                                                            true, false)),
-                                                            (String ((Ascii
-                                                            (false, false,
-                                                            true, false,
-                                                            true, false,
-                                                            true, false)),
-                                                            (String ((Ascii
-                                                            (false, true,
-                                                            false, false,
-                                                            true, true, true,
-                                                            false)), (String
-                                                            ((Ascii (true,
-                                                            false, false,
-                                                            false, false,
-                                                            true, true,
-                                                            false)), (String
-                                                            ((Ascii (true,
-                                                            true, false,
-                                                            false, false,
-                                                            true, true,
-                                                            false)), (String
-                                                            ((Ascii (true,
-                                                            false, true,
-                                                            false, false,
-                                                            true, true,
-                                                            false)), (String
-                                                            ((Ascii (false,
-                                                            true, true, true,
-                                                            false, false,
-                                                            true, false)),
-                                                            (String ((Ascii
-                                                            (true, false,
-                                                            true, false,
-                                                            true, true, true,
-                                                            false)), (String
-                                                            ((Ascii (true,
-                                                            false, true,
-                                                            true, false,
-                                                            true, true,
-                                                            false)), (String
-                                                            ((Ascii (false,
-                                                            true, false,
-                                                            false, false,
-                                                            true, true,
-                                                            false)), (String
-                                                            ((Ascii (true,
-                                                            false, true,
-                                                            false, false,
-                                                            true, true,
-                                                            false)), (String
-                                                            ((Ascii (false,
-                                                            true, false,
-                                                            false, true,
-                                                            true, true,
-                                                            false)),
-                                                            EmptyString))))))))))))))))))))))))))))))))))))))))))))))))))))))
-                                                            []) :: ((mkcut (S
-                                                                    (S (S (S
-                                                                    (S (S (S
-                                                                    (S (S (S
-                                                                    (S (S (S
-                                                                    (S (S (S
-                                                                    (S (S (S
-                                                                    (S (S (S
-                                                                    (S (S (S
-                                                                    (S (S (S
-                                                                    (S (S (S
-                                                                    (S (S (S
-                                                                    (S (S (S
-                                                                    (S (S (S
-                                                                    (S (S (S
-                                                                    (S (S (S
-                                                                    (S (S (S
-                                                                    (S (S (S
-                                                                    (S (S (S
-                                                                    (S (S (S
-                                                                    (S (S (S
-                                                                    (S (S (S
-                                                                    (S (S (S
-                                                                    (S (S (S
-                                                                    (S (S (S
-                                                                    O)))))))))))))))))))))))))))))))))))))))))))))))))))))))))))))))))))))))))
-                                                                    (S (S (S
-                                                                    (S (S (S
-                                                                    (S (S (S
-                                                                    (S (S (S
-                                                                    (S (S (S
-                                                                    (S (S (S
-                                                                    (S (S (S
-                                                                    (S (S (S
-                                                                    (S (S (S
-                                                                    (S (S (S
-                                                                    (S (S (S
-                                                                    (S (S (S
-                                                                    (S (S (S
-                                                                    (S (S (S
-                                                                    (S (S (S
-                                                                    (S (S (S
-                                                                    (S (S (S
-                                                                    (S (S (S
-                                                                    (S (S (S
-                                                                    (S (S (S
-                                                                    (S (S (S
-                                                                    (S (S (S
-                                                                    (S (S (S
-                                                                    (S (S (S
-                                                                    (S (S (S
-                                                                    (S
-                                                                    O))))))))))))))))))))))))))))))))))))))))))))))))))))))))))))))))))))))))))))
-                                                                    (String
-                                                                    ((Ascii
-                                                                    (false,
-                                                                    false,
-                                                                    true,
-                                                                    false,
-                                                                    false,
-                                                                    false,
-                                                                    true,
-                                                                    false)),
-                                                                    (String
-                                                                    ((Ascii
-                                                                    (true,
-                                                                    false,
-                                                                    false,
-                                                                    true,
-                                                                    false,
-                                                                    true,
-                                                                    true,
-                                                                    false)),
-                                                                    (String
-                                                                    ((Ascii
-                                                                    (true,
-                                                                    true,
-                                                                    false,
-                                                                    false,
-                                                                    true,
-                                                                    true,
-                                                                    true,
-                                                                    false)),
-                                                                    (String
-                                                                    ((Ascii
-                                                                    (false,
-                                                                    false,
-                                                                    false,
-                                                                    true,
-                                                                    false,
-                                                                    true,
-                                                                    true,
-                                                                    false)),
-                                                                    (String
-                                                                    ((Ascii
-                                                                    (true,
-                                                                    true,
-                                                                    true,
-                                                                    true,
-                                                                    false,
-                                                                    true,
-                                                                    true,
-                                                                    false)),
-                                                                    (String
-                                                                    ((Ascii
-                                                                    (false,
-                                                                    true,
-                                                                    true,
-                                                                    true,
-                                                                    false,
-                                                                    true,
-                                                                    true,
-                                                                    false)),
-                                                                    (String
-                                                                    ((Ascii
-                                                                    (true,
-                                                                    true,
-                                                                    true,
-                                                                    true,
-                                                                    false,
-                                                                    true,
-                                                                    true,
-                                                                    false)),
-                                                                    (String
-                                                                    ((Ascii
-                                                                    (false,
-                                                                    true,
-                                                                    false,
-                                                                    false,
-                                                                    true,
-                                                                    true,
-                                                                    true,
-                                                                    false)),
-                                                                    (String
-                                                                    ((Ascii
-                                                                    (true,
-                                                                    false,
-                                                                    true,
-                                                                    false,
-                                                                    false,
-                                                                    true,
-                                                                    true,
-                                                                    false)),
-                                                                    (String
-                                                                    ((Ascii
-                                                                    (false,
-                                                                    false,
-                                                                    true,
-                                                                    false,
-                                                                    false,
-                                                                    true,
-                                                                    true,
-                                                                    false)),
-                                                                    (String
-                                                                    ((Ascii
-                                                                    (false,
-                                                                    true,
-                                                                    false,
-                                                                    false,
-                                                                    true,
-                                                                    false,
-                                                                    true,
-                                                                    false)),
-                                                                    (String
-                                                                    ((Ascii
-                                                                    (true,
-                                                                    false,
-                                                                    true,
-                                                                    false,
-                                                                    false,
-                                                                    true,
-                                                                    true,
-                                                                    false)),
-                                                                    (String
-                                                                    ((Ascii
-                                                                    (false,
-                                                                    false,
-                                                                    true,
-                                                                    false,
-                                                                    true,
-                                                                    true,
-                                                                    true,
-                                                                    false)),
-                                                                    (String
-                                                                    ((Ascii
-                                                                    (true,
-                                                                    false,
-                                                                    true,
-                                                                    false,
-                                                                    true,
-                                                                    true,
-                                                                    true,
-                                                                    false)),
-                                                                    (String
-                                                                    ((Ascii
-                                                                    (false,
-                                                                    true,
-                                                                    false,
-                                                                    false,
-                                                                    true,
-                                                                    true,
-                                                                    true,
-                                                                    false)),
-                                                                    (String
-                                                                    ((Ascii
-                                                                    (false,
-                                                                    true,
-                                                                    true,
-                                                                    true,
-                                                                    false,
-                                                                    true,
-                                                                    true,
-                                                                    false)),
-                                                                    (String
-                                                                    ((Ascii
-                                                                    (true,
-                                                                    true,
-                                                                    false,
-                                                                    false,
-                                                                    true,
-                                                                    false,
-                                                                    true,
-                                                                    false)),
-                                                                    (String
-                                                                    ((Ascii
-                                                                    (true,
-                                                                    false,
-                                                                    true,
-                                                                    false,
-                                                                    false,
-                                                                    true,
-                                                                    true,
-                                                                    false)),
-                                                                    (String
-                                                                    ((Ascii
-                                                                    (false,
-                                                                    false,
-                                                                    true,
-                                                                    false,
-                                                                    true,
-                                                                    true,
-                                                                    true,
-                                                                    false)),
-                                                                    (String
-                                                                    ((Ascii
-                                                                    (false,
-                                                                    false,
-                                                                    true,
-                                                                    false,
-                                                                    true,
-                                                                    true,
-                                                                    true,
-                                                                    false)),
-                                                                    (String
-                                                                    ((Ascii
-                                                                    (false,
-                                                                    false,
-                                                                    true,
-                                                                    true,
-                                                                    false,
-                                                                    true,
-                                                                    true,
-                                                                    false)),
-                                                                    (String
-                                                                    ((Ascii
-                                                                    (true,
-                                                                    false,
-                                                                    true,
-                                                                    false,
-                                                                    false,
-                                                                    true,
-                                                                    true,
-                                                                    false)),
-                                                                    (String
-                                                                    ((Ascii
-                                                                    (true,
-                                                                    false,
-                                                                    true,
-                                                                    true,
-                                                                    false,
-                                                                    true,
-                                                                    true,
-                                                                    false)),
-                                                                    (String
-                                                                    ((Ascii
-                                                                    (true,
-                                                                    false,
-                                                                    true,
-                                                                    false,
-                                                                    false,
-                                                                    true,
-                                                                    true,
-                                                                    false)),
-                                                                    (String
-                                                                    ((Ascii
-                                                                    (false,
-                                                                    true,
-                                                                    true,
-                                                                    true,
-                                                                    false,
-                                                                    true,
-                                                                    true,
-                                                                    false)),
-                                                                    (String
-                                                                    ((Ascii
-                                                                    (false,
-                                                                    false,
-                                                                    true,
-                                                                    false,
-                                                                    true,
-                                                                    true,
-                                                                    true,
-                                                                    false)),
-                                                                    (String
-                                                                    ((Ascii
-                                                                    (false,
-                                                                    false,
-                                                                    true,
-                                                                    false,
-                                                                    false,
-                                                                    false,
-                                                                    true,
-                                                                    false)),
-                                                                    (String
-                                                                    ((Ascii
-                                                                    (true,
-                                                                    false,
-                                                                    false,
-                                                                    false,
-                                                                    false,
-                                                                    true,
-                                                                    true,
-                                                                    false)),
-                                                                    (String
-                                                                    ((Ascii
-                                                                    (false,
-                                                                    false,
-                                                                    true,
-                                                                    false,
-                                                                    true,
-                                                                    true,
-                                                                    true,
-                                                                    false)),
-                                                                    (String
-                                                                    ((Ascii
-                                                                    (true,
-                                                                    false,
-                                                                    true,
-                                                                    false,
-                                                                    false,
-                                                                    true,
-                                                                    true,
-                                                                    false)),
-                                                                    EmptyString))))))))))))))))))))))))))))))))))))))))))))))))))))))))))))
-                                                                    []) :: (
-    (mkcut (S (S (S (S (S (S (S (S (S (S (S (S (S (S (S (S (S (S (S (S (S (S
-      (S (S (S (S (S (S (S (S (S (S (S (S (S (S (S (S (S (S (S (S (S (S (S (S
-      (S (S (S (S (S (S (S (S (S (S (S (S (S (S (S (S (S (S (S (S (S (S (S (S
-      (S (S (S (S (S (S
-      O))))))))))))))))))))))))))))))))))))))))))))))))))))))))))))))))))))))))))))
-      (S (S (S (S (S (S (S (S (S (S (S (S (S (S (S (S (S (S (S (S (S (S (S (S
-      (S (S (S (S (S (S (S (S (S (S (S (S (S (S (S (S (S (S (S (S (S (S (S (S
-      (S (S (S (S (S (S (S (S (S (S (S (S (S (S (S (S (S (S (S (S (S (S (S (S
-      (S (S (S (S (S (S
-      O))))))))))))))))))))))))))))))))))))))))))))))))))))))))))))))))))))))))))))))
-      (String ((Ascii (false, false, true, false, false, false, true,
-      false)), (String ((Ascii (true, false, false, true, false, true, true,
-      false)), (String ((Ascii (true, true, false, false, true, true, true,
-      false)), (String ((Ascii (false, false, false, true, false, true, true,
-      false)), (String ((Ascii (true, true, true, true, false, true, true,
-      false)), (String ((Ascii (false, true, true, true, false, true, true,
-      false)), (String ((Ascii (true, true, true, true, false, true, true,
-      false)), (String ((Ascii (false, true, false, false, true, true, true,
-      false)), (String ((Ascii (true, false, true, false, false, true, true,
-      false)), (String ((Ascii (false, false, true, false, false, true, true,
-      false)), (String ((Ascii (false, true, false, false, true, false, true,
-      false)), (String ((Ascii (true, false, true, false, false, true, true,
-      false)), (String ((Ascii (false, false, true, false, true, true, true,
-      false)), (String ((Ascii (true, false, true, false, true, true, true,
-      false)), (String ((Ascii (false, true, false, false, true, true, true,
-      false)), (String ((Ascii (false, true, true, true, false, true, true,
-      false)), (String ((Ascii (false, true, false, false, true, false, true,
-      false)), (String ((Ascii (true, false, true, false, false, true, true,
-      false)), (String ((Ascii (true, false, false, false, false, true, true,
-      false)), (String ((Ascii (true, true, false, false, true, true, true,
-      false)), (String ((Ascii (true, true, true, true, false, true, true,
-      false)), (String ((Ascii (false, true, true, true, false, true, true,
-      false)), (String ((Ascii (true, true, false, false, false, false, true,
-      false)), (String ((Ascii (true, true, true, true, false, true, true,
-      false)), (String ((Ascii (false, false, true, false, false, true, true,
-      false)), (String ((Ascii (true, false, true, false, false, true, true,
-      false)),
-      EmptyString)))))))))))))))))))))))))))))))))))))))))))))))))))) []) :: (
-    (mkcut (S (S (S (S (S (S (S (S (S (S (S (S (S (S (S (S (S (S (S (S (S (S
-      (S (S (S (S (S (S (S (S (S (S (S (S (S (S (S (S (S (S (S (S (S (S (S (S
-      (S (S (S (S (S (S (S (S (S (S (S (S (S (S (S (S (S (S (S (S (S (S (S (S
-      (S (S (S (S (S (S (S (S
-      O))))))))))))))))))))))))))))))))))))))))))))))))))))))))))))))))))))))))))))))
-      (S (S (S (S (S (S (S (S (S (S (S (S (S (S (S (S (S (S (S (S (S (S (S (S
-      (S (S (S (S (S (S (S (S (S (S (S (S (S (S (S (S (S (S (S (S (S (S (S (S
-      (S (S (S (S (S (S (S (S (S (S (S (S (S (S (S (S (S (S (S (S (S (S (S (S
-      (S (S (S (S (S (S (S
-      O)))))))))))))))))))))))))))))))))))))))))))))))))))))))))))))))))))))))))))))))
-      EmptyString []) :: ((mkcut (S (S (S (S (S (S (S (S (S (S (S (S (S (S (S
-                            (S (S (S (S (S (S (S (S (S (S (S (S (S (S (S (S
-                            (S (S (S (S (S (S (S (S (S (S (S (S (S (S (S (S
-                            (S (S (S (S (S (S (S (S (S (S (S (S (S (S (S (S
-                            (S (S (S (S (S (S (S (S (S (S (S (S (S (S (S (S
-                            O)))))))))))))))))))))))))))))))))))))))))))))))))))))))))))))))))))))))))))))))
-                            (S (S (S (S (S (S (S (S (S (S (S (S (S (S (S (S
-                            (S (S (S (S (S (S (S (S (S (S (S (S (S (S (S (S
-                            (S (S (S (S (S (S (S (S (S (S (S (S (S (S (S (S
-                            (S (S (S (S (S (S (S (S (S (S (S (S (S (S (S (S
-                            (S (S (S (S (S (S (S (S (S (S (S (S (S (S (S (S
-                            (S (S (S (S (S (S (S (S (S (S (S (S (S (S
-                            O))))))))))))))))))))))))))))))))))))))))))))))))))))))))))))))))))))))))))))))))))))))))))))))
-                            (String ((Ascii (false, false, true, false, true,
-                            false, true, false)), (String ((Ascii (false,
-                            true, false, false, true, true, true, false)),
-                            (String ((Ascii (true, false, false, false,
-                            false, true, true, false)), (String ((Ascii
-                            (true, true, false, false, false, true, true,
-                            false)), (String ((Ascii (true, false, true,
-                            false, false, true, true, false)), (String
-                            ((Ascii (false, true, true, true, false, false,
-                            true, false)), (String ((Ascii (true, false,
-                            true, false, true, true, true, false)), (String
-                            ((Ascii (true, false, true, true, false, true,
-                            true, false)), (String ((Ascii (false, true,
-                            false, false, false, true, true, false)), (String
-                            ((Ascii (true, false, true, false, false, true,
-                            true, false)), (String ((Ascii (false, true,
-                            false, false, true, true, true, false)),
-                            EmptyString)))))))))))))))))))))) []) :: []))))))))))))))) }
+type rresult =
+| RCtorErr
+| RScanErr of rerr
+| RParsed of bytes
 
-(** val l_Addenda99Dishonored : layout **)
+(** val reader_run : rpolicy -> source -> rresult **)
 
-let l_Addenda99Dishonored =
-  { l_name = (String ((Ascii (true, false, false, false, false, false, true,
-    false)), (String ((Ascii (false, false, true, false, false, true, true,
-    false)), (String ((Ascii (false, false, true, false, false, true, true,
-    false)), (String ((Ascii (true, false, true, false, false, true, true,
-    false)), (String ((Ascii (false, true, true, true, false, true, true,
-    false)), (String ((Ascii (false, false, true, false, false, true, true,
-    false)), (String ((Ascii (true, false, false, false, false, true, true,
-    false)), (String ((Ascii (true, false, false, true, true, true, false,
-    false)), (String ((Ascii (true, false, false, true, true, true, false,
-    false)), (String ((Ascii (false, false, true, false, false, false, true,
-    false)), (String ((Ascii (true, false, false, true, false, true, true,
-    false)), (String ((Ascii (true, true, false, false, true, true, true,
-    false)), (String ((Ascii (false, false, false, true, false, true, true,
-    false)), (String ((Ascii (true, true, true, true, false, true, true,
-    false)), (String ((Ascii (false, true, true, true, false, true, true,
-    false)), (String ((Ascii (true, true, true, true, false, true, true,
-    false)), (String ((Ascii (false, true, false, false, true, true, true,
-    false)), (String ((Ascii (true, false, true, false, false, true, true,
-    false)), (String ((Ascii (false, false, true, false, false, true, true,
-    false)), EmptyString)))))))))))))))))))))))))))))))))))))); l_ix = IRune;
-    l_segs = ((SLit ((Npos (XI (XI (XI (XO (XI XH)))))) :: [])) :: ((SRaw
-    (String ((Ascii (false, false, true, false, true, false, true, false)),
-    (String ((Ascii (true, false, false, true, true, true, true, false)),
-    (String ((Ascii (false, false, false, false, true, true, true, false)),
-    (String ((Ascii (true, false, true, false, false, true, true, false)),
-    (String ((Ascii (true, true, false, false, false, false, true, false)),
-    (String ((Ascii (true, true, true, true, false, true, true, false)),
-    (String ((Ascii (false, false, true, false, false, true, true, false)),
-    (String ((Ascii (true, false, true, false, false, true, true, false)),
-    EmptyString))))))))))))))))) :: ((SStr ((String ((Ascii (false, false,
-    true, false, false, false, true, false)), (String ((Ascii (true, false,
-    false, true, false, true, true, false)), (String ((Ascii (true, true,
-    false, false, true, true, true, false)), (String ((Ascii (false, false,
-    false, true, false, true, true, false)), (String ((Ascii (true, true,
-    true, true, false, true, true, false)), (String ((Ascii (false, true,
-    true, true, false, true, true, false)), (String ((Ascii (true, true,
-    true, true, false, true, true, false)), (String ((Ascii (false, true,
-    false, false, true, true, true, false)), (String ((Ascii (true, false,
-    true, false, false, true, true, false)), (String ((Ascii (false, false,
-    true, false, false, true, true, false)), (String ((Ascii (false, true,
-    false, false, true, false, true, false)), (String ((Ascii (true, false,
-    true, false, false, true, true, false)), (String ((Ascii (false, false,
-    true, false, true, true, true, false)), (String ((Ascii (true, false,
-    true, false, true, true, true, false)), (String ((Ascii (false, true,
-    false, false, true, true, true, false)), (String ((Ascii (false, true,
-    true, true, false, true, true, false)), (String ((Ascii (false, true,
-    false, false, true, false, true, false)), (String ((Ascii (true, false,
-    true, false, false, true, true, false)), (String ((Ascii (true, false,
-    false, false, false, true, true, false)), (String ((Ascii (true, true,
-    false, false, true, true, true, false)), (String ((Ascii (true, true,
-    true, true, false, true, true, false)), (String ((Ascii (false, true,
-    true, true, false, true, true, false)), (String ((Ascii (true, true,
-    false, false, false, false, true, false)), (String ((Ascii (true, true,
-    true, true, false, true, true, false)), (String ((Ascii (false, false,
-    true, false, false, true, true, false)), (String ((Ascii (true, false,
-    true, false, false, true, true, false)),
-    EmptyString)))))))))))))))))))))))))))))))))))))))))))))))))))), (S (S (S
-    O))))) :: ((SStr ((String ((Ascii (true, true, true, true, false, false,
-    true, false)), (String ((Ascii (false, true, false, false, true, true,
-    true, false)), (String ((Ascii (true, false, false, true, false, true,
-    true, false)), (String ((Ascii (true, true, true, false, false, true,
-    true, false)), (String ((Ascii (true, false, false, true, false, true,
-    true, false)), (String ((Ascii (false, true, true, true, false, true,
-    true, false)), (String ((Ascii (true, false, false, false, false, true,
-    true, false)), (String ((Ascii (false, false, true, true, false, true,
-    true, false)), (String ((Ascii (true, false, true, false, false, false,
-    true, false)), (String ((Ascii (false, true, true, true, false, true,
-    true, false)), (String ((Ascii (false, false, true, false, true, true,
-    true, false)), (String ((Ascii (false, true, false, false, true, true,
-    true, false)), (String ((Ascii (true, false, false, true, true, true,
-    true, false)), (String ((Ascii (false, false, true, false, true, false,
-    true, false)), (String ((Ascii (false, true, false, false, true, true,
-    true, false)), (String ((Ascii (true, false, false, false, false, true,
-    true, false)), (String ((Ascii (true, true, false, false, false, true,
-    true, false)), (String ((Ascii (true, false, true, false, false, true,
-    true, false)), (String ((Ascii (false, true, true, true, false, false,
-    true, false)), (String ((Ascii (true, false, true, false, true, true,
-    true, false)), (String ((Ascii (true, false, true, true, false, true,
-    true, false)), (String ((Ascii (false, true, false, false, false, true,
-    true, false)), (String ((Ascii (true, false, true, false, false, true,
-    true, false)), (String ((Ascii (false, true, false, false, true, true,
-    true, false)),
-    EmptyString)))))))))))))))))))))))))))))))))))))))))))))))), (S (S (S (S
-    (S (S (S (S (S (S (S (S (S (S (S O))))))))))))))))) :: ((SLit ((Npos (XO
-    (XO (XO (XO (XO XH)))))) :: ((Npos (XO (XO (XO (XO (XO XH)))))) :: ((Npos
-    (XO (XO (XO (XO (XO XH)))))) :: ((Npos (XO (XO (XO (XO (XO
-    XH)))))) :: ((Npos (XO (XO (XO (XO (XO XH)))))) :: ((Npos (XO (XO (XO (XO
-    (XO XH)))))) :: []))))))) :: ((SStr ((String ((Ascii (true, true, true,
-    true, false, false, true, false)), (String ((Ascii (false, true, false,
-    false, true, true, true, false)), (String ((Ascii (true, false, false,
-    true, false, true, true, false)), (String ((Ascii (true, true, true,
-    false, false, true, true, false)), (String ((Ascii (true, false, false,
-    true, false, true, true, false)), (String ((Ascii (false, true, true,
-    true, false, true, true, false)), (String ((Ascii (true, false, false,
-    false, false, true, true, false)), (String ((Ascii (false, false, true,
-    true, false, true, true, false)), (String ((Ascii (false, true, false,
-    false, true, false, true, false)), (String ((Ascii (true, false, true,
-    false, false, true, true, false)), (String ((Ascii (true, true, false,
-    false, false, true, true, false)), (String ((Ascii (true, false, true,
-    false, false, true, true, false)), (String ((Ascii (true, false, false,
-    true, false, true, true, false)), (String ((Ascii (false, true, true,
-    false, true, true, true, false)), (String ((Ascii (true, false, false,
-    true, false, true, true, false)), (String ((Ascii (false, true, true,
-    true, false, true, true, false)), (String ((Ascii (true, true, true,
-    false, false, true, true, false)), (String ((Ascii (false, false, true,
-    false, false, false, true, false)), (String ((Ascii (false, true, true,
-    false, false, false, true, false)), (String ((Ascii (true, false, false,
-    true, false, false, true, false)), (String ((Ascii (true, false, false,
-    true, false, false, true, false)), (String ((Ascii (false, false, true,
-    false, false, true, true, false)), (String ((Ascii (true, false, true,
-    false, false, true, true, false)), (String ((Ascii (false, true, true,
-    true, false, true, true, false)), (String ((Ascii (false, false, true,
-    false, true, true, true, false)), (String ((Ascii (true, false, false,
-    true, false, true, true, false)), (String ((Ascii (false, true, true,
-    false, false, true, true, false)), (String ((Ascii (true, false, false,
-    true, false, true, true, false)), (String ((Ascii (true, true, false,
-    false, false, true, true, false)), (String ((Ascii (true, false, false,
-    false, false, true, true, false)), (String ((Ascii (false, false, true,
-    false, true, true, true, false)), (String ((Ascii (true, false, false,
-    true, false, true, true, false)), (String ((Ascii (true, true, true,
-    true, false, true, true, false)), (String ((Ascii (false, true, true,
-    true, false, true, true, false)),
-    EmptyString)))))))))))))))))))))))))))))))))))))))))))))))))))))))))))))))))))),
-    (S (S (S (S (S (S (S (S O)))))))))) :: ((SLit ((Npos (XO (XO (XO (XO (XO
-    XH)))))) :: ((Npos (XO (XO (XO (XO (XO XH)))))) :: ((Npos (XO (XO (XO (XO
-    (XO XH)))))) :: [])))) :: ((SStr ((String ((Ascii (false, true, false,
-    false, true, false, true, false)), (String ((Ascii (true, false, true,
-    false, false, true, true, false)), (String ((Ascii (false, false, true,
-    false, true, true, true, false)), (String ((Ascii (true, false, true,
-    false, true, true, true, false)), (String ((Ascii (false, true, false,
-    false, true, true, true, false)), (String ((Ascii (false, true, true,
-    true, false, true, true, false)), (String ((Ascii (false, false, true,
-    false, true, false, true, false)), (String ((Ascii (false, true, false,
-    false, true, true, true, false)), (String ((Ascii (true, false, false,
-    false, false, true, true, false)), (String ((Ascii (true, true, false,
-    false, false, true, true, false)), (String ((Ascii (true, false, true,
-    false, false, true, true, false)), (String ((Ascii (false, true, true,
-    true, false, false, true, false)), (String ((Ascii (true, false, true,
-    false, true, true, true, false)), (String ((Ascii (true, false, true,
-    true, false, true, true, false)), (String ((Ascii (false, true, false,
-    false, false, true, true, false)), (String ((Ascii (true, false, true,
-    false, false, true, true, false)), (String ((Ascii (false, true, false,
-    false, true, true, true, false)),
-    EmptyString)))))))))))))))))))))))))))))))))), (S (S (S (S (S (S (S (S (S
-    (S (S (S (S (S (S O))))))))))))))))) :: ((SStr ((String ((Ascii (false,
-    true, false, false, true, false, true, false)), (String ((Ascii (true,
-    false, true, false, false, true, true, false)), (String ((Ascii (false,
-    false, true, false, true, true, true, false)), (String ((Ascii (true,
-    false, true, false, true, true, true, false)), (String ((Ascii (false,
-    true, false, false, true, true, true, false)), (String ((Ascii (false,
-    true, true, true, false, true, true, false)), (String ((Ascii (true,
-    true, false, false, true, false, true, false)), (String ((Ascii (true,
-    false, true, false, false, true, true, false)), (String ((Ascii (false,
-    false, true, false, true, true, true, false)), (String ((Ascii (false,
-    false, true, false, true, true, true, false)), (String ((Ascii (false,
-    false, true, true, false, true, true, false)), (String ((Ascii (true,
-    false, true, false, false, true, true, false)), (String ((Ascii (true,
-    false, true, true, false, true, true, false)), (String ((Ascii (true,
-    false, true, false, false, true, true, false)), (String ((Ascii (false,
-    true, true, true, false, true, true, false)), (String ((Ascii (false,
-    false, true, false, true, true, true, false)), (String ((Ascii (false,
-    false, true, false, false, false, true, false)), (String ((Ascii (true,
-    false, false, false, false, true, true, false)), (String ((Ascii (false,
-    false, true, false, true, true, true, false)), (String ((Ascii (true,
-    false, true, false, false, true, true, false)),
-    EmptyString)))))))))))))))))))))))))))))))))))))))), (S (S (S
-    O))))) :: ((SStr ((String ((Ascii (false, true, false, false, true,
-    false, true, false)), (String ((Ascii (true, false, true, false, false,
-    true, true, false)), (String ((Ascii (false, false, true, false, true,
-    true, true, false)), (String ((Ascii (true, false, true, false, true,
-    true, true, false)), (String ((Ascii (false, true, false, false, true,
-    true, true, false)), (String ((Ascii (false, true, true, true, false,
-    true, true, false)), (String ((Ascii (false, true, false, false, true,
-    false, true, false)), (String ((Ascii (true, false, true, false, false,
-    true, true, false)), (String ((Ascii (true, false, false, false, false,
-    true, true, false)), (String ((Ascii (true, true, false, false, true,
-    true, true, false)), (String ((Ascii (true, true, true, true, false,
-    true, true, false)), (String ((Ascii (false, true, true, true, false,
-    true, true, false)), (String ((Ascii (true, true, false, false, false,
-    false, true, false)), (String ((Ascii (true, true, true, true, false,
-    true, true, false)), (String ((Ascii (false, false, true, false, false,
-    true, true, false)), (String ((Ascii (true, false, true, false, false,
-    true, true, false)), EmptyString)))))))))))))))))))))))))))))))), (S (S
-    O)))) :: ((SAlpha ((String ((Ascii (true, false, false, false, false,
-    false, true, false)), (String ((Ascii (false, false, true, false, false,
-    true, true, false)), (String ((Ascii (false, false, true, false, false,
-    true, true, false)), (String ((Ascii (true, false, true, false, false,
-    true, true, false)), (String ((Ascii (false, true, true, true, false,
-    true, true, false)), (String ((Ascii (false, false, true, false, false,
-    true, true, false)), (String ((Ascii (true, false, false, false, false,
-    true, true, false)), (String ((Ascii (true, false, false, true, false,
-    false, true, false)), (String ((Ascii (false, true, true, true, false,
-    true, true, false)), (String ((Ascii (false, true, true, false, false,
-    true, true, false)), (String ((Ascii (true, true, true, true, false,
-    true, true, false)), (String ((Ascii (false, true, false, false, true,
-    true, true, false)), (String ((Ascii (true, false, true, true, false,
-    true, true, false)), (String ((Ascii (true, false, false, false, false,
-    true, true, false)), (String ((Ascii (false, false, true, false, true,
-    true, true, false)), (String ((Ascii (true, false, false, true, false,
-    true, true, false)), (String ((Ascii (true, true, true, true, false,
-    true, true, false)), (String ((Ascii (false, true, true, true, false,
-    true, true, false)), EmptyString)))))))))))))))))))))))))))))))))))), (S
-    (S (S (S (S (S (S (S (S (S (S (S (S (S (S (S (S (S (S (S (S
-    O))))))))))))))))))))))) :: ((SStr ((String ((Ascii (false, false, true,
-    false, true, false, true, false)), (String ((Ascii (false, true, false,
-    false, true, true, true, false)), (String ((Ascii (true, false, false,
-    false, false, true, true, false)), (String ((Ascii (true, true, false,
-    false, false, true, true, false)), (String ((Ascii (true, false, true,
-    false, false, true, true, false)), (String ((Ascii (false, true, true,
-    true, false, false, true, false)), (String ((Ascii (true, false, true,
-    false, true, true, true, false)), (String ((Ascii (true, false, true,
-    true, false, true, true, false)), (String ((Ascii (false, true, false,
-    false, false, true, true, false)), (String ((Ascii (true, false, true,
-    false, false, true, true, false)), (String ((Ascii (false, true, false,
-    false, true, true, true, false)), EmptyString)))))))))))))))))))))), (S
-    (S (S (S (S (S (S (S (S (S (S (S (S (S (S
-    O))))))))))))))))) :: [])))))))))))); l_cuts =
-    ((mkcut O (S O) EmptyString []) :: ((mkcut (S O) (S (S (S O))) (String
-                                          ((Ascii (false, false, true, false,
-                                          true, false, true, false)), (String
-                                          ((Ascii (true, false, false, true,
-                                          true, true, true, false)), (String
-                                          ((Ascii (false, false, false,
-                                          false, true, true, true, false)),
-                                          (String ((Ascii (true, false, true,
-                                          false, false, true, true, false)),
-                                          (String ((Ascii (true, true, false,
-                                          false, false, false, true, false)),
-                                          (String ((Ascii (true, true, true,
-                                          true, false, true, true, false)),
-                                          (String ((Ascii (false, false,
-                                          true, false, false, true, true,
-                                          false)), (String ((Ascii (true,
-                                          false, true, false, false, true,
-                                          true, false)),
-                                          EmptyString)))))))))))))))) []) :: (
-    (mkcut (S (S (S O))) (S (S (S (S (S (S O)))))) (String ((Ascii (false,
-      false, true, false, false, false, true, false)), (String ((Ascii (true,
-      false, false, true, false, true, true, false)), (String ((Ascii (true,
-      true, false, false, true, true, true, false)), (String ((Ascii (false,
-      false, false, true, false, true, true, false)), (String ((Ascii (true,
-      true, true, true, false, true, true, false)), (String ((Ascii (false,
-      true, true, true, false, true, true, false)), (String ((Ascii (true,
-      true, true, true, false, true, true, false)), (String ((Ascii (false,
-      true, false, false, true, true, true, false)), (String ((Ascii (true,
-      false, true, false, false, true, true, false)), (String ((Ascii (false,
-      false, true, false, false, true, true, false)), (String ((Ascii (false,
-      true, false, false, true, false, true, false)), (String ((Ascii (true,
-      false, true, false, false, true, true, false)), (String ((Ascii (false,
-      false, true, false, true, true, true, false)), (String ((Ascii (true,
-      false, true, false, true, true, true, false)), (String ((Ascii (false,
-      true, false, false, true, true, true, false)), (String ((Ascii (false,
-      true, true, true, false, true, true, false)), (String ((Ascii (false,
-      true, false, false, true, false, true, false)), (String ((Ascii (true,
-      false, true, false, false, true, true, false)), (String ((Ascii (true,
-      false, false, false, false, true, true, false)), (String ((Ascii (true,
-      true, false, false, true, true, true, false)), (String ((Ascii (true,
-      true, true, true, false, true, true, false)), (String ((Ascii (false,
-      true, true, true, false, true, true, false)), (String ((Ascii (true,
-      true, false, false, false, false, true, false)), (String ((Ascii (true,
-      true, true, true, false, true, true, false)), (String ((Ascii (false,
-      false, true, false, false, true, true, false)), (String ((Ascii (true,
-      false, true, false, false, true, true, false)),
-      EmptyString)))))))))))))))))))))))))))))))))))))))))))))))))))) []) :: (
-    (mkcut (S (S (S (S (S (S O)))))) (S (S (S (S (S (S (S (S (S (S (S (S (S
-      (S (S (S (S (S (S (S (S O))))))))))))))))))))) (String ((Ascii (true,
-      true, true, true, false, false, true, false)), (String ((Ascii (false,
-      true, false, false, true, true, true, false)), (String ((Ascii (true,
-      false, false, true, false, true, true, false)), (String ((Ascii (true,
-      true, true, false, false, true, true, false)), (String ((Ascii (true,
-      false, false, true, false, true, true, false)), (String ((Ascii (false,
-      true, true, true, false, true, true, false)), (String ((Ascii (true,
-      false, false, false, false, true, true, false)), (String ((Ascii
-      (false, false, true, true, false, true, true, false)), (String ((Ascii
-      (true, false, true, false, false, false, true, false)), (String ((Ascii
-      (false, true, true, true, false, true, true, false)), (String ((Ascii
-      (false, false, true, false, true, true, true, false)), (String ((Ascii
-      (false, true, false, false, true, true, true, false)), (String ((Ascii
-      (true, false, false, true, true, true, true, false)), (String ((Ascii
-      (false, false, true, false, true, false, true, false)), (String ((Ascii
-      (false, true, false, false, true, true, true, false)), (String ((Ascii
-      (true, false, false, false, false, true, true, false)), (String ((Ascii
-      (true, true, false, false, false, true, true, false)), (String ((Ascii
-      (true, false, true, false, false, true, true, false)), (String ((Ascii
-      (false, true, true, true, false, false, true, false)), (String ((Ascii
-      (true, false, true, false, true, true, true, false)), (String ((Ascii
-      (true, false, true, true, false, true, true, false)), (String ((Ascii
-      (false, true, false, false, false, true, true, false)), (String ((Ascii
-      (true, false, true, false, false, true, true, false)), (String ((Ascii
-      (false, true, false, false, true, true, true, false)),
-      EmptyString)))))))))))))))))))))))))))))))))))))))))))))))) []) :: (
-    (mkcut (S (S (S (S (S (S (S (S (S (S (S (S (S (S (S (S (S (S (S (S (S
-      O))))))))))))))))))))) (S (S (S (S (S (S (S (S (S (S (S (S (S (S (S (S
-      (S (S (S (S (S (S (S (S (S (S (S O)))))))))))))))))))))))))))
-      EmptyString []) :: ((mkcut (S (S (S (S (S (S (S (S (S (S (S (S (S (S (S
-                            (S (S (S (S (S (S (S (S (S (S (S (S
-                            O))))))))))))))))))))))))))) (S (S (S (S (S (S (S
-                            (S (S (S (S (S (S (S (S (S (S (S (S (S (S (S (S
-                            (S (S (S (S (S (S (S (S (S (S (S (S
-                            O))))))))))))))))))))))))))))))))))) (String
-                            ((Ascii (true, true, true, true, false, false,
-                            true, false)), (String ((Ascii (false, true,
-                            false, false, true, true, true, false)), (String
-                            ((Ascii (true, false, false, true, false, true,
-                            true, false)), (String ((Ascii (true, true, true,
-                            false, false, true, true, false)), (String
-                            ((Ascii (true, false, false, true, false, true,
-                            true, false)), (String ((Ascii (false, true,
-                            true, true, false, true, true, false)), (String
-                            ((Ascii (true, false, false, false, false, true,
-                            true, false)), (String ((Ascii (false, false,
-                            true, true, false, true, true, false)), (String
-                            ((Ascii (false, true, false, false, true, false,
-                            true, false)), (String ((Ascii (true, false,
-                            true, false, false, true, true, false)), (String
-                            ((Ascii (true, true, false, false, false, true,
-                            true, false)), (String ((Ascii (true, false,
-                            true, false, false, true, true, false)), (String
-                            ((Ascii (true, false, false, true, false, true,
-                            true, false)), (String ((Ascii (false, true,
-                            true, false, true, true, true, false)), (String
-                            ((Ascii (true, false, false, true, false, true,
-                            true, false)), (String ((Ascii (false, true,
-                            true, true, false, true, true, false)), (String
-                            ((Ascii (true, true, true, false, false, true,
-                            true, false)), (String ((Ascii (false, false,
-                            true, false, false, false, true, false)), (String
-                            ((Ascii (false, true, true, false, false, false,
-                            true, false)), (String ((Ascii (true, false,
-                            false, true, false, false, true, false)), (String
-                            ((Ascii (true, false, false, true, false, false,
-                            true, false)), (String ((Ascii (false, false,
-                            true, false, false, true, true, false)), (String
-                            ((Ascii (true, false, true, false, false, true,
-                            true, false)), (String ((Ascii (false, true,
-                            true, true, false, true, true, false)), (String
-                            ((Ascii (false, false, true, false, true, true,
-                            true, false)), (String ((Ascii (true, false,
-                            false, true, false, true, true, false)), (String
-                            ((Ascii (false, true, true, false, false, true,
-                            true, false)), (String ((Ascii (true, false,
-                            false, true, false, true, true, false)), (String
-                            ((Ascii (true, true, false, false, false, true,
-                            true, false)), (String ((Ascii (true, false,
-                            false, false, false, true, true, false)), (String
-                            ((Ascii (false, false, true, false, true, true,
-                            true, false)), (String ((Ascii (true, false,
-                            false, true, false, true, true, false)), (String
-                            ((Ascii (true, true, true, true, false, true,
-                            true, false)), (String ((Ascii (false, true,
-                            true, true, false, true, true, false)),
-                            EmptyString))))))))))))))))))))))))))))))))))))))))))))))))))))))))))))))))))))
-                            []) :: ((mkcut (S (S (S (S (S (S (S (S (S (S (S
-                                      (S (S (S (S (S (S (S (S (S (S (S (S (S
-                                      (S (S (S (S (S (S (S (S (S (S (S
-                                      O))))))))))))))))))))))))))))))))))) (S
-                                      (S (S (S (S (S (S (S (S (S (S (S (S (S
-                                      (S (S (S (S (S (S (S (S (S (S (S (S (S
-                                      (S (S (S (S (S (S (S (S (S (S (S
-                                      O))))))))))))))))))))))))))))))))))))))
-                                      EmptyString []) :: ((mkcut (S (S (S (S
-                                                            (S (S (S (S (S (S
-                                                            (S (S (S (S (S (S
-                                                            (S (S (S (S (S (S
-                                                            (S (S (S (S (S (S
-                                                            (S (S (S (S (S (S
-                                                            (S (S (S (S
-                                                            O))))))))))))))))))))))))))))))))))))))
-                                                            (S (S (S (S (S (S
-                                                            (S (S (S (S (S (S
-                                                            (S (S (S (S (S (S
-                                                            (S (S (S (S (S (S
-                                                            (S (S (S (S (S (S
-                                                            (S (S (S (S (S (S
-                                                            (S (S (S (S (S (S
-                                                            (S (S (S (S (S (S
-                                                            (S (S (S (S (S
-                                                            O)))))))))))))))))))))))))))))))))))))))))))))))))))))
-                                                            (String ((Ascii
-                                                            (false, true,
-                                                            false, false,
-                                                            true, false,
-                                                            true, false)),
-                                                            (String ((Ascii
-                                                            (true, false,
-                                                            true, false,
-                                                            false, true,
-                                                            true, false)),
-                                                            (String ((Ascii
-                                                            (false, false,
-                                                            true, false,
-                                                            true, true, true,
-                                                            false)), (String
-                                                            ((Ascii (true,
-                                                            false, true,
-                                                            false, true,
-                                                            true, true,
-                                                            false)), (String
-                                                            ((Ascii (false,
-                                                            true, false,
-                                                            false, true,
-                                                            true, true,
-                                                            false)), (String
-                                                            ((Ascii (false,
-                                                            true, true, true,
-                                                            false, true,
-                                                            true, false)),
-                                                            (String ((Ascii
-                                                            (false, false,
-                                                            true, false,
-                                                            true, false,
-                                                            true, false)),
-                                                            (String ((Ascii
-                                                            (false, true,
-                                                            false, false,
-                                                            true, true, true,
-                                                            false)), (String
-                                                            ((Ascii (true,
-                                                            false, false,
-                                                            false, false,
-                                                            true, true,
-                                                            false)), (String
-                                                            ((Ascii (true,
-                                                            true, false,
-                                                            false, false,
-                                                            true, true,
-                                                            false)), (String
-                                                            ((Ascii (true,
-                                                            false, true,
-                                                            false, false,
-                                                            true, true,
-                                                            false)), (String
-                                                            ((Ascii (false,
-                                                            true, true, true,
-                                                            false, false,
-                                                            true, false)),
-                                                            (String ((Ascii
-                                                            (true, false,
-                                                            true, false,
-                                                            true, true, true,
-                                                            false)), (String
-                                                            ((Ascii (true,
-                                                            false, true,
-                                                            true, false,
-                                                            true, true,
-                                                            false)), (String
-                                                            ((Ascii (false,
-                                                            true, false,
-                                                            false, false,
-                                                            true, true,
-                                                            false)), (String
-                                                            ((Ascii (true,
-                                                            false, true,
-                                                            false, false,
-                                                            true, true,
-                                                            false)), (String
-                                                            ((Ascii (false,
-                                                            true, false,
-                                                            false, true,
-                                                            true, true,
-                                                            false)),
-                                                            EmptyString))))))))))))))))))))))))))))))))))
-                                                            []) :: ((mkcut (S
-                                                                    (S (S (S
-                                                                    (S (S (S
-                                                                    (S (S (S
-                                                                    (S (S (S
-                                                                    (S (S (S
-                                                                    (S (S (S
-                                                                    (S (S (S
-                                                                    (S (S (S
-                                                                    (S (S (S
-                                                                    (S (S (S
-                                                                    (S (S (S
-                                                                    (S (S (S
-                                                                    (S (S (S
-                                                                    (S (S (S
-                                                                    (S (S (S
-                                                                    (S (S (S
-                                                                    (S (S (S
-                                                                    (S
-                                                                    O)))))))))))))))))))))))))))))))))))))))))))))))))))))
-                                                                    (S (S (S
-                                                                    (S (S (S
-                                                                    (S (S (S
-                                                                    (S (S (S
-                                                                    (S (S (S
-                                                                    (S (S (S
-                                                                    (S (S (S
-                                                                    (S (S (S
-                                                                    (S (S (S
-                                                                    (S (S (S
-                                                                    (S (S (S
-                                                                    (S (S (S
-                                                                    (S (S (S
-                                                                    (S (S (S
-                                                                    (S (S (S
-                                                                    (S (S (S
-                                                                    (S (S (S
-                                                                    (S (S (S
-                                                                    (S (S
-                                                                    O))))))))))))))))))))))))))))))))))))))))))))))))))))))))
-                                                                    (String
-                                                                    ((Ascii
-                                                                    (false,
-                                                                    true,
-                                                                    false,
-                                                                    false,
-                                                                    true,
-                                                                    false,
-                                                                    true,
-                                                                    false)),
-                                                                    (String
-                                                                    ((Ascii
-                                                                    (true,
-                                                                    false,
-                                                                    true,
-                                                                    false,
-                                                                    false,
-                                                                    true,
-                                                                    true,
-                                                                    false)),
-                                                                    (String
-                                                                    ((Ascii
-                                                                    (false,
-                                                                    false,
-                                                                    true,
-                                                                    false,
-                                                                    true,
-                                                                    true,
-                                                                    true,
-                                                                    false)),
-                                                                    (String
-                                                                    ((Ascii
-                                                                    (true,
-                                                                    false,
-                                                                    true,
-                                                                    false,
-                                                                    true,
-                                                                    true,
-                                                                    true,
-                                                                    false)),
-                                                                    (String
-                                                                    ((Ascii
-                                                                    (false,
-                                                                    true,
-                                                                    false,
-                                                                    false,
-                                                                    true,
-                                                                    true,
-                                                                    true,
-                                                                    false)),
-                                                                    (String
-                                                                    ((Ascii
-                                                                    (false,
-                                                                    true,
-                                                                    true,
-                                                                    true,
-                                                                    false,
-                                                                    true,
-                                                                    true,
-                                                                    false)),
-                                                                    (String
-                                                                    ((Ascii
-                                                                    (true,
-                                                                    true,
-                                                                    false,
-                                                                    false,
-                                                                    true,
-                                                                    false,
-                                                                    true,
-                                                                    false)),
-                                                                    (String
-                                                                    ((Ascii
-                                                                    (true,
-                                                                    false,
-                                                                    true,
-                                                                    false,
-                                                                    false,
-                                                                    true,
-                                                                    true,
-                                                                    false)),
-                                                                    (String
-                                                                    ((Ascii
-                                                                    (false,
-                                                                    false,
-                                                                    true,
-                                                                    false,
-                                                                    true,
-                                                                    true,
-                                                                    true,
-                                                                    false)),
-                                                                    (String
-                                                                    ((Ascii
-                                                                    (false,
-                                                                    false,
-                                                                    true,
-                                                                    false,
-                                                                    true,
-                                                                    true,
-                                                                    true,
-                                                                    false)),
-                                                                    (String
-                                                                    ((Ascii
-                                                                    (false,
-                                                                    false,
-                                                                    true,
-                                                                    true,
-                                                                    false,
-                                                                    true,
-                                                                    true,
-                                                                    false)),
-                                                                    (String
-                                                                    ((Ascii
-                                                                    (true,
-                                                                    false,
-                                                                    true,
-                                                                    false,
-                                                                    false,
-                                                                    true,
-                                                                    true,
-                                                                    false)),
-                                                                    (String
-                                                                    ((Ascii
-                                                                    (true,
-                                                                    false,
-                                                                    true,
-                                                                    true,
-                                                                    false,
-                                                                    true,
-                                                                    true,
-                                                                    false)),
-                                                                    (String
-                                                                    ((Ascii
-                                                                    (true,
-                                                                    false,
-                                                                    true,
-                                                                    false,
-                                                                    false,
-                                                                    true,
-                                                                    true,
-                                                                    false)),
-                                                                    (String
-                                                                    ((Ascii
-                                                                    (false,
-                                                                    true,
-                                                                    true,
-                                                                    true,
-                                                                    false,
-                                                                    true,
-                                                                    true,
-                                                                    false)),
-                                                                    (String
-                                                                    ((Ascii
-                                                                    (false,
-                                                                    false,
-                                                                    true,
-                                                                    false,
-                                                                    true,
-                                                                    true,
-                                                                    true,
-                                                                    false)),
-                                                                    (String
-                                                                    ((Ascii
-                                                                    (false,
-                                                                    false,
-                                                                    true,
-                                                                    false,
-                                                                    false,
-                                                                    false,
-                                                                    true,
-                                                                    false)),
-                                                                    (String
-                                                                    ((Ascii
-                                                                    (true,
-                                                                    false,
-                                                                    false,
-                                                                    false,
-                                                                    false,
-                                                                    true,
-                                                                    true,
-                                                                    false)),
-                                                                    (String
-                                                                    ((Ascii
-                                                                    (false,
-                                                                    false,
-                                                                    true,
-                                                                    false,
-                                                                    true,
-                                                                    true,
-                                                                    true,
-                                                                    false)),
-                                                                    (String
-                                                                    ((Ascii
-                                                                    (true,
-                                                                    false,
-                                                                    true,
-                                                                    false,
-                                                                    false,
-                                                                    true,
-                                                                    true,
-                                                                    false)),
-                                                                    EmptyString))))))))))))))))))))))))))))))))))))))))
-                                                                    []) :: (
-    (mkcut (S (S (S (S (S (S (S (S (S (S (S (S (S (S (S (S (S (S (S (S (S (S
-      (S (S (S (S (S (S (S (S (S (S (S (S (S (S (S (S (S (S (S (S (S (S (S (S
-      (S (S (S (S (S (S (S (S (S (S
-      O)))))))))))))))))))))))))))))))))))))))))))))))))))))))) (S (S (S (S
-      (S (S (S (S (S (S (S (S (S (S (S (S (S (S (S (S (S (S (S (S (S (S (S (S
-      (S (S (S (S (S (S (S (S (S (S (S (S (S (S (S (S (S (S (S (S (S (S (S (S
-      (S (S (S (S (S (S
-      O)))))))))))))))))))))))))))))))))))))))))))))))))))))))))) (String
-      ((Ascii (false, true, false, false, true, false, true, false)), (String
-      ((Ascii (true, false, true, false, false, true, true, false)), (String
-      ((Ascii (false, false, true, false, true, true, true, false)), (String
-      ((Ascii (true, false, true, false, true, true, true, false)), (String
-      ((Ascii (false, true, false, false, true, true, true, false)), (String
-      ((Ascii (false, true, true, true, false, true, true, false)), (String
-      ((Ascii (false, true, false, false, true, false, true, false)), (String
-      ((Ascii (true, false, true, false, false, true, true, false)), (String
-      ((Ascii (true, false, false, false, false, true, true, false)), (String
-      ((Ascii (true, true, false, false, true, true, true, false)), (String
-      ((Ascii (true, true, true, true, false, true, true, false)), (String
-      ((Ascii (false, true, true, true, false, true, true, false)), (String
-      ((Ascii (true, true, false, false, false, false, true, false)), (String
-      ((Ascii (true, true, true, true, false, true, true, false)), (String
-      ((Ascii (false, false, true, false, false, true, true, false)), (String
-      ((Ascii (true, false, true, false, false, true, true, false)),
-      EmptyString)))))))))))))))))))))))))))))))) []) :: ((mkcut (S (S (S (S
-                                                            (S (S (S (S (S (S
-                                                            (S (S (S (S (S (S
-                                                            (S (S (S (S (S (S
-                                                            (S (S (S (S (S (S
-                                                            (S (S (S (S (S (S
-                                                            (S (S (S (S (S (S
-                                                            (S (S (S (S (S (S
-                                                            (S (S (S (S (S (S
-                                                            (S (S (S (S (S (S
-                                                            O))))))))))))))))))))))))))))))))))))))))))))))))))))))))))
-                                                            (S (S (S (S (S (S
-                                                            (S (S (S (S (S (S
-                                                            (S (S (S (S (S (S
-                                                            (S (S (S (S (S (S
-                                                            (S (S (S (S (S (S
-                                                            (S (S (S (S (S (S
-                                                            (S (S (S (S (S (S
-                                                            (S (S (S (S (S (S
-                                                            (S (S (S (S (S (S
-                                                            (S (S (S (S (S (S
-                                                            (S (S (S (S (S (S
-                                                            (S (S (S (S (S (S
-                                                            (S (S (S (S (S (S
-                                                            (S
-                                                            O)))))))))))))))))))))))))))))))))))))))))))))))))))))))))))))))))))))))))))))))
-                                                            (String ((Ascii
-                                                            (true, false,
-                                                            false, false,
-                                                            false, false,
-                                                            true, false)),
-                                                            (String ((Ascii
-                                                            (false, false,
-                                                            true, false,
-                                                            false, true,
-                                                            true, false)),
-                                                            (String ((Ascii
-                                                            (false, false,
-                                                            true, false,
-                                                            false, true,
-                                                            true, false)),
-                                                            (String ((Ascii
-                                                            (true, false,
-                                                            true, false,
-                                                            false, true,
-                                                            true, false)),
-                                                            (String ((Ascii
-                                                            (false, true,
-                                                            true, true,
-                                                            false, true,
-                                                            true, false)),
-                                                            (String ((Ascii
-                                                            (false, false,
-                                                            true, false,
-                                                            false, true,
-                                                            true, false)),
-                                                            (String ((Ascii
-                                                            (true, false,
-                                                            false, false,
-                                                            false, true,
-                                                            true, false)),
-                                                            (String ((Ascii
-                                                            (true, false,
-                                                            false, true,
-                                                            false, false,
-                                                            true, false)),
-                                                            (String ((Ascii
-                                                            (false, true,
-                                                            true, true,
-                                                            false, true,
-                                                            true, false)),
-                                                            (String ((Ascii
-                                                            (false, true,
-                                                            true, false,
-                                                            false, true,
-                                                            true, false)),
-                                                            (String ((Ascii
-                                                            (true, true,
-                                                            true, true,
-                                                            false, true,
-                                                            true, false)),
-                                                            (String ((Ascii
-                                                            (false, true,
-                                                            false, false,
-                                                            true, true, true,
-                                                            false)), (String
-                                                            ((Ascii (true,
-                                                            false, true,
-                                                            true, false,
-                                                            true, true,
-                                                            false)), (String
-                                                            ((Ascii (true,
-                                                            false, false,
-                                                            false, false,
-                                                            true, true,
-                                                            false)), (String
-                                                            ((Ascii (false,
-                                                            false, true,
-                                                            false, true,
-                                                            true, true,
-                                                            false)), (String
-                                                            ((Ascii (true,
-                                                            false, false,
-                                                            true, false,
-                                                            true, true,
-                                                            false)), (String
-                                                            ((Ascii (true,
-                                                            true, true, true,
-                                                            false, true,
-                                                            true, false)),
-                                                            (String ((Ascii
-                                                            (false, true,
-                                                            true, true,
-                                                            false, true,
-                                                            true, false)),
-                                                            EmptyString))))))))))))))))))))))))))))))))))))
-                                                            []) :: ((mkcut (S
-                                                                    (S (S (S
-                                                                    (S (S (S
-                                                                    (S (S (S
-                                                                    (S (S (S
-                                                                    (S (S (S
-                                                                    (S (S (S
-                                                                    (S (S (S
-                                                                    (S (S (S
-                                                                    (S (S (S
-                                                                    (S (S (S
-                                                                    (S (S (S
-                                                                    (S (S (S
-                                                                    (S (S (S
-                                                                    (S (S (S
-                                                                    (S (S (S
-                                                                    (S (S (S
-                                                                    (S (S (S
-                                                                    (S (S (S
-                                                                    (S (S (S
-                                                                    (S (S (S
-                                                                    (S (S (S
-                                                                    (S (S (S
-                                                                    (S (S (S
-                                                                    (S (S (S
-                                                                    (S (S (S
-                                                                    (S (S (S
-                                                                    O)))))))))))))))))))))))))))))))))))))))))))))))))))))))))))))))))))))))))))))))
-                                                                    (S (S (S
-                                                                    (S (S (S
-                                                                    (S (S (S
-                                                                    (S (S (S
-                                                                    (S (S (S
-                                                                    (S (S (S
-                                                                    (S (S (S
-                                                                    (S (S (S
-                                                                    (S (S (S
-                                                                    (S (S (S
-                                                                    (S (S (S
-                                                                    (S (S (S
-                                                                    (S (S (S
-                                                                    (S (S (S
-                                                                    (S (S (S
-                                                                    (S (S (S
-                                                                    (S (S (S
-                                                                    (S (S (S
-                                                                    (S (S (S
-                                                                    (S (S (S
-                                                                    (S (S (S
-                                                                    (S (S (S
-                                                                    (S (S (S
-                                                                    (S (S (S
-                                                                    (S (S (S
-                                                                    (S (S (S
-                                                                    (S (S (S
-                                                                    (S (S (S
-                                                                    (S (S (S
-                                                                    (S (S (S
-                                                                    (S (S (S
-                                                                    (S
-                                                                    O))))))))))))))))))))))))))))))))))))))))))))))))))))))))))))))))))))))))))))))))))))))))))))))
-                                                                    (String
-                                                                    ((Ascii
-                                                                    (false,
-                                                                    false,
-                                                                    true,
-                                                                    false,
-                                                                    true,
-                                                                    false,
-                                                                    true,
-                                                                    false)),
-                                                                    (String
-                                                                    ((Ascii
-                                                                    (false,
-                                                                    true,
-                                                                    false,
-                                                                    false,
-                                                                    true,
-                                                                    true,
-                                                                    true,
-                                                                    false)),
-                                                                    (String
-                                                                    ((Ascii
-                                                                    (true,
-                                                                    false,
-                                                                    false,
-                                                                    false,
-                                                                    false,
-                                                                    true,
-                                                                    true,
-                                                                    false)),
-                                                                    (String
-                                                                    ((Ascii
-                                                                    (true,
-                                                                    true,
-                                                                    false,
-                                                                    false,
-                                                                    false,
-                                                                    true,
-                                                                    true,
-                                                                    false)),
-                                                                    (String
-                                                                    ((Ascii
-                                                                    (true,
-                                                                    false,
-                                                                    true,
-                                                                    false,
-                                                                    false,
-                                                                    true,
-                                                                    true,
-                                                                    false)),
-                                                                    (String
-                                                                    ((Ascii
-                                                                    (false,
-                                                                    true,
-                                                                    true,
-                                                                    true,
-                                                                    false,
-                                                                    false,
-                                                                    true,
-                                                                    false)),
-                                                                    (String
-                                                                    ((Ascii
-                                                                    (true,
-                                                                    false,
-                                                                    true,
-                                                                    false,
-                                                                    true,
-                                                                    true,
-                                                                    true,
-                                                                    false)),
-                                                                    (String
-                                                                    ((Ascii
-                                                                    (true,
-                                                                    false,
-                                                                    true,
-                                                                    true,
-                                                                    false,
-                                                                    true,
-                                                                    true,
-                                                                    false)),
-                                                                    (String
-                                                                    ((Ascii
-                                                                    (false,
-                                                                    true,
-                                                                    false,
-                                                                    false,
-                                                                    false,
-                                                                    true,
-                                                                    true,
-                                                                    false)),
-                                                                    (String
-                                                                    ((Ascii
-                                                                    (true,
-                                                                    false,
-                                                                    true,
-                                                                    false,
-                                                                    false,
-                                                                    true,
-                                                                    true,
-                                                                    false)),
-                                                                    (String
-                                                                    ((Ascii
-                                                                    (false,
-                                                                    true,
-                                                                    false,
-                                                                    false,
-                                                                    true,
-                                                                    true,
-                                                                    true,
-                                                                    false)),
-                                                                    EmptyString))))))))))))))))))))))
-                                                                    []) :: [])))))))))))) }
+let reader_run p s =
+  let (p0, filled) = read_full preview_size s.src_chunks [] in
+  let (pre, rest) = p0 in
+  if filled
+  then let d = app pre (concat rest) in
+       (match s.src_term with
+        | TEOF -> RParsed d
+        | TErr e ->
+          (match p.r_scan with
+           | Propagate -> RScanErr e
+           | _ -> RParsed d))
+  else (match s.src_term with
+        | TEOF -> RParsed pre
+        | TErr e ->
+          (match e with
+           | RInj ->
+             (match p.r_ctor with
+              | Propagate -> RCtorErr
+              | _ -> RParsed [])
+           | RUnexpectedEOF -> RParsed pre))
 
-(** val l_BatchControl : layout **)
+(** val chop : nat -> nat -> bytes -> bytes list **)
 
-let l_BatchControl =
-  { l_name = (String ((Ascii (false, true, false, false, false, false, true,
-    false)), (String ((Ascii (true, false, false, false, false, true, true,
-    false)), (String ((Ascii (false, false, true, false, true, true, true,
-    false)), (String ((Ascii (true, true, false, false, false, true, true,
-    false)), (String ((Ascii (false, false, false, true, false, true, true,
-    false)), (String ((Ascii (true, true, false, false, false, false, true,
-    false)), (String ((Ascii (true, true, true, true, false, true, true,
-    false)), (String ((Ascii (false, true, true, true, false, true, true,
-    false)), (String ((Ascii (false, false, true, false, true, true, true,
-    false)), (String ((Ascii (false, true, false, false, true, true, true,
-    false)), (String ((Ascii (true, true, true, true, false, true, true,
-    false)), (String ((Ascii (false, false, true, true, false, true, true,
-    false)), EmptyString)))))))))))))))))))))))); l_ix = IByte; l_segs =
-    ((SLit ((Npos (XO (XO (XO (XI (XI XH)))))) :: [])) :: ((SItoa (String
-    ((Ascii (true, true, false, false, true, false, true, false)), (String
-    ((Ascii (true, false, true, false, false, true, true, false)), (String
-    ((Ascii (false, true, false, false, true, true, true, false)), (String
-    ((Ascii (false, true, true, false, true, true, true, false)), (String
-    ((Ascii (true, false, false, true, false, true, true, false)), (String
-    ((Ascii (true, true, false, false, false, true, true, false)), (String
-    ((Ascii (true, false, true, false, false, true, true, false)), (String
-    ((Ascii (true, true, false, false, false, false, true, false)), (String
-    ((Ascii (false, false, true, true, false, true, true, false)), (String
-    ((Ascii (true, false, false, false, false, true, true, false)), (String
-    ((Ascii (true, true, false, false, true, true, true, false)), (String
-    ((Ascii (true, true, false, false, true, true, true, false)), (String
-    ((Ascii (true, true, false, false, false, false, true, false)), (String
-    ((Ascii (true, true, true, true, false, true, true, false)), (String
-    ((Ascii (false, false, true, false, false, true, true, false)), (String
-    ((Ascii (true, false, true, false, false, true, true, false)),
-    EmptyString))))))))))))))))))))))))))))))))) :: ((SNum ((String ((Ascii
-    (true, false, true, false, false, false, true, false)), (String ((Ascii
-    (false, true, true, true, false, true, true, false)), (String ((Ascii
-    (false, false, true, false, true, true, true, false)), (String ((Ascii
-    (false, true, false, false, true, true, true, false)), (String ((Ascii
-    (true, false, false, true, true, true, true, false)), (String ((Ascii
-    (true, false, false, false, false, false, true, false)), (String ((Ascii
-    (false, false, true, false, false, true, true, false)), (String ((Ascii
-    (false, false, true, false, false, true, true, false)), (String ((Ascii
-    (true, false, true, false, false, true, true, false)), (String ((Ascii
-    (false, true, true, true, false, true, true, false)), (String ((Ascii
-    (false, false, true, false, false, true, true, false)), (String ((Ascii
-    (true, false, false, false, false, true, true, false)), (String ((Ascii
-    (true, true, false, false, false, false, true, false)), (String ((Ascii
-    (true, true, true, true, false, true, true, false)), (String ((Ascii
-    (true, false, true, false, true, true, true, false)), (String ((Ascii
-    (false, true, true, true, false, true, true, false)), (String ((Ascii
-    (false, false, true, false, true, true, true, false)),
-    EmptyString)))))))))))))))))))))))))))))))))), (S (S (S (S (S (S
-    O)))))))) :: ((SNum ((String ((Ascii (true, false, true, false, false,
-    false, true, false)), (String ((Ascii (false, true, true, true, false,
-    true, true, false)), (String ((Ascii (false, false, true, false, true,
-    true, true, false)), (String ((Ascii (false, true, false, false, true,
-    true, true, false)), (String ((Ascii (true, false, false, true, true,
-    true, true, false)), (String ((Ascii (false, false, false, true, false,
-    false, true, false)), (String ((Ascii (true, false, false, false, false,
-    true, true, false)), (String ((Ascii (true, true, false, false, true,
-    true, true, false)), (String ((Ascii (false, false, false, true, false,
-    true, true, false)), EmptyString)))))))))))))))))), (S (S (S (S (S (S (S
-    (S (S (S O)))))))))))) :: ((SNum ((String ((Ascii (false, false, true,
-    false, true, false, true, false)), (String ((Ascii (true, true, true,
-    true, false, true, true, false)), (String ((Ascii (false, false, true,
-    false, true, true, true, false)), (String ((Ascii (true, false, false,
-    false, false, true, true, false)), (String ((Ascii (false, false, true,
-    true, false, true, true, false)), (String ((Ascii (false, false, true,
-    false, false, false, true, false)), (String ((Ascii (true, false, true,
-    false, false, true, true, false)), (String ((Ascii (false, true, false,
-    false, false, true, true, false)), (String ((Ascii (true, false, false,
-    true, false, true, true, false)), (String ((Ascii (false, false, true,
-    false, true, true, true, false)), (String ((Ascii (true, false, true,
-    false, false, false, true, false)), (String ((Ascii (false, true, true,
-    true, false, true, true, false)), (String ((Ascii (false, false, true,
-    false, true, true, true, false)), (String ((Ascii (false, true, false,
-    false, true, true, true, false)), (String ((Ascii (true, false, false,
-    true, true, true, true, false)), (String ((Ascii (false, false, true,
-    false, false, false, true, false)), (String ((Ascii (true, true, true,
-    true, false, true, true, false)), (String ((Ascii (false, false, true,
-    true, false, true, true, false)), (String ((Ascii (false, false, true,
-    true, false, true, true, false)), (String ((Ascii (true, false, false,
-    false, false, true, true, false)), (String ((Ascii (false, true, false,
-    false, true, true, true, false)), (String ((Ascii (true, false, false,
-    false, false, false, true, false)), (String ((Ascii (true, false, true,
-    true, false, true, true, false)), (String ((Ascii (true, true, true,
-    true, false, true, true, false)), (String ((Ascii (true, false, true,
-    false, true, true, true, false)), (String ((Ascii (false, true, true,
-    true, false, true, true, false)), (String ((Ascii (false, false, true,
-    false, true, true, true, false)),
-    EmptyString)))))))))))))))))))))))))))))))))))))))))))))))))))))), (S (S
-    (S (S (S (S (S (S (S (S (S (S O)))))))))))))) :: ((SNum ((String ((Ascii
-    (false, false, true, false, true, false, true, false)), (String ((Ascii
-    (true, true, true, true, false, true, true, false)), (String ((Ascii
-    (false, false, true, false, true, true, true, false)), (String ((Ascii
-    (true, false, false, false, false, true, true, false)), (String ((Ascii
-    (false, false, true, true, false, true, true, false)), (String ((Ascii
-    (true, true, false, false, false, false, true, false)), (String ((Ascii
-    (false, true, false, false, true, true, true, false)), (String ((Ascii
-    (true, false, true, false, false, true, true, false)), (String ((Ascii
-    (false, false, true, false, false, true, true, false)), (String ((Ascii
-    (true, false, false, true, false, true, true, false)), (String ((Ascii
-    (false, false, true, false, true, true, true, false)), (String ((Ascii
-    (true, false, true, false, false, false, true, false)), (String ((Ascii
-    (false, true, true, true, false, true, true, false)), (String ((Ascii
-    (false, false, true, false, true, true, true, false)), (String ((Ascii
-    (false, true, false, false, true, true, true, false)), (String ((Ascii
-    (true, false, false, true, true, true, true, false)), (String ((Ascii
-    (false, false, true, false, false, false, true, false)), (String ((Ascii
-    (true, true, true, true, false, true, true, false)), (String ((Ascii
-    (false, false, true, true, false, true, true, false)), (String ((Ascii
-    (false, false, true, true, false, true, true, false)), (String ((Ascii
-    (true, false, false, false, false, true, true, false)), (String ((Ascii
-    (false, true, false, false, true, true, true, false)), (String ((Ascii
-    (true, false, false, false, false, false, true, false)), (String ((Ascii
-    (true, false, true, true, false, true, true, false)), (String ((Ascii
-    (true, true, true, true, false, true, true, false)), (String ((Ascii
-    (true, false, true, false, true, true, true, false)), (String ((Ascii
-    (false, true, true, true, false, true, true, false)), (String ((Ascii
-    (false, false, true, false, true, true, true, false)),
-    EmptyString)))))))))))))))))))))))))))))))))))))))))))))))))))))))), (S
-    (S (S (S (S (S (S (S (S (S (S (S O)))))))))))))) :: ((SAlpha ((String
-    ((Ascii (true, true, false, false, false, false, true, false)), (String
-    ((Ascii (true, true, true, true, false, true, true, false)), (String
-    ((Ascii (true, false, true, true, false, true, true, false)), (String
-    ((Ascii (false, false, false, false, true, true, true, false)), (String
-    ((Ascii (true, false, false, false, false, true, true, false)), (String
-    ((Ascii (false, true, true, true, false, true, true, false)), (String
-    ((Ascii (true, false, false, true, true, true, true, false)), (String
-    ((Ascii (true, false, false, true, false, false, true, false)), (String
-    ((Ascii (false, false, true, false, false, true, true, false)), (String
-    ((Ascii (true, false, true, false, false, true, true, false)), (String
-    ((Ascii (false, true, true, true, false, true, true, false)), (String
-    ((Ascii (false, false, true, false, true, true, true, false)), (String
-    ((Ascii (true, false, false, true, false, true, true, false)), (String
-    ((Ascii (false, true, true, false, false, true, true, false)), (String
-    ((Ascii (true, false, false, true, false, true, true, false)), (String
-    ((Ascii (true, true, false, false, false, true, true, false)), (String
-    ((Ascii (true, false, false, false, false, true, true, false)), (String
-    ((Ascii (false, false, true, false, true, true, true, false)), (String
-    ((Ascii (true, false, false, true, false, true, true, false)), (String
-    ((Ascii (true, true, true, true, false, true, true, false)), (String
-    ((Ascii (false, true, true, true, false, true, true, false)),
-    EmptyString)))))))))))))))))))))))))))))))))))))))))), (S (S (S (S (S (S
-    (S (S (S (S O)))))))))))) :: ((SAlpha ((String ((Ascii (true, false,
-    true, true, false, false, true, false)), (String ((Ascii (true, false,
-    true, false, false, true, true, false)), (String ((Ascii (true, true,
-    false, false, true, true, true, false)), (String ((Ascii (true, true,
-    false, false, true, true, true, false)), (String ((Ascii (true, false,
-    false, false, false, true, true, false)), (String ((Ascii (true, true,
-    true, false, false, true, true, false)), (String ((Ascii (true, false,
-    true, false, false, true, true, false)), (String ((Ascii (true, false,
-    false, false, false, false, true, false)), (String ((Ascii (true, false,
-    true, false, true, true, true, false)), (String ((Ascii (false, false,
-    true, false, true, true, true, false)), (String ((Ascii (false, false,
-    false, true, false, true, true, false)), (String ((Ascii (true, false,
-    true, false, false, true, true, false)), (String ((Ascii (false, true,
-    true, true, false, true, true, false)), (String ((Ascii (false, false,
-    true, false, true, true, true, false)), (String ((Ascii (true, false,
-    false, true, false, true, true, false)), (String ((Ascii (true, true,
-    false, false, false, true, true, false)), (String ((Ascii (true, false,
-    false, false, false, true, true, false)), (String ((Ascii (false, false,
-    true, false, true, true, true, false)), (String ((Ascii (true, false,
-    false, true, false, true, true, false)), (String ((Ascii (true, true,
-    true, true, false, true, true, false)), (String ((Ascii (false, true,
-    true, true, false, true, true, false)), (String ((Ascii (true, true,
-    false, false, false, false, true, false)), (String ((Ascii (true, true,
-    true, true, false, true, true, false)), (String ((Ascii (false, false,
-    true, false, false, true, true, false)), (String ((Ascii (true, false,
-    true, false, false, true, true, false)),
-    EmptyString)))))))))))))))))))))))))))))))))))))))))))))))))), (S (S (S
-    (S (S (S (S (S (S (S (S (S (S (S (S (S (S (S (S
-    O))))))))))))))))))))) :: ((SLit ((Npos (XO (XO (XO (XO (XO
-    XH)))))) :: ((Npos (XO (XO (XO (XO (XO XH)))))) :: ((Npos (XO (XO (XO (XO
-    (XO XH)))))) :: ((Npos (XO (XO (XO (XO (XO XH)))))) :: ((Npos (XO (XO (XO
-    (XO (XO XH)))))) :: ((Npos (XO (XO (XO (XO (XO
-    XH)))))) :: []))))))) :: ((SStr ((String ((Ascii (true, true, true, true,
-    false, false, true, false)), (String ((Ascii (false, false, true, false,
-    false, false, true, false)), (String ((Ascii (false, true, true, false,
-    false, false, true, false)), (String ((Ascii (true, false, false, true,
-    false, false, true, false)), (String ((Ascii (true, false, false, true,
-    false, false, true, false)), (String ((Ascii (false, false, true, false,
-    false, true, true, false)), (String ((Ascii (true, false, true, false,
-    false, true, true, false)), (String ((Ascii (false, true, true, true,
-    false, true, true, false)), (String ((Ascii (false, false, true, false,
-    true, true, true, false)), (String ((Ascii (true, false, false, true,
-    false, true, true, false)), (String ((Ascii (false, true, true, false,
-    false, true, true, false)), (String ((Ascii (true, false, false, true,
-    false, true, true, false)), (String ((Ascii (true, true, false, false,
-    false, true, true, false)), (String ((Ascii (true, false, false, false,
-    false, true, true, false)), (String ((Ascii (false, false, true, false,
-    true, true, true, false)), (String ((Ascii (true, false, false, true,
-    false, true, true, false)), (String ((Ascii (true, true, true, true,
-    false, true, true, false)), (String ((Ascii (false, true, true, true,
-    false, true, true, false)),
-    EmptyString)))))))))))))))))))))))))))))))))))), (S (S (S (S (S (S (S (S
-    O)))))))))) :: ((SNum ((String ((Ascii (false, true, false, false, false,
-    false, true, false)), (String ((Ascii (true, false, false, false, false,
-    true, true, false)), (String ((Ascii (false, false, true, false, true,
-    true, true, false)), (String ((Ascii (true, true, false, false, false,
-    true, true, false)), (String ((Ascii (false, false, false, true, false,
-    true, true, false)), (String ((Ascii (false, true, true, true, false,
-    false, true, false)), (String ((Ascii (true, false, true, false, true,
-    true, true, false)), (String ((Ascii (true, false, true, true, false,
-    true, true, false)), (String ((Ascii (false, true, false, false, false,
-    true, true, false)), (String ((Ascii (true, false, true, false, false,
-    true, true, false)), (String ((Ascii (false, true, false, false, true,
-    true, true, false)), EmptyString)))))))))))))))))))))), (S (S (S (S (S (S
-    (S O))))))))) :: []))))))))))); l_cuts =
-    ((mkcut (S O) (S (S (S (S O)))) (String ((Ascii (true, true, false,
-       false, true, false, true, false)), (String ((Ascii (true, false, true,
-       false, false, true, true, false)), (String ((Ascii (false, true,
-       false, false, true, true, true, false)), (String ((Ascii (false, true,
-       true, false, true, true, true, false)), (String ((Ascii (true, false,
-       false, true, false, true, true, false)), (String ((Ascii (true, true,
-       false, false, false, true, true, false)), (String ((Ascii (true,
-       false, true, false, false, true, true, false)), (String ((Ascii (true,
-       true, false, false, false, false, true, false)), (String ((Ascii
-       (false, false, true, true, false, true, true, false)), (String ((Ascii
-       (true, false, false, false, false, true, true, false)), (String
-       ((Ascii (true, true, false, false, true, true, true, false)), (String
-       ((Ascii (true, true, false, false, true, true, true, false)), (String
-       ((Ascii (true, true, false, false, false, false, true, false)),
-       (String ((Ascii (true, true, true, true, false, true, true, false)),
-       (String ((Ascii (false, false, true, false, false, true, true,
-       false)), (String ((Ascii (true, false, true, false, false, true, true,
-       false)), EmptyString)))))))))))))))))))))))))))))))) ((String ((Ascii
-       (false, false, false, false, true, true, true, false)), (String
-       ((Ascii (true, false, false, false, false, true, true, false)),
-       (String ((Ascii (false, true, false, false, true, true, true, false)),
-       (String ((Ascii (true, true, false, false, true, true, true, false)),
-       (String ((Ascii (true, false, true, false, false, true, true, false)),
-       (String ((Ascii (false, true, true, true, false, false, true, false)),
-       (String ((Ascii (true, false, true, false, true, true, true, false)),
-       (String ((Ascii (true, false, true, true, false, true, true, false)),
-       (String ((Ascii (false, true, true, false, false, false, true,
-       false)), (String ((Ascii (true, false, false, true, false, true, true,
-       false)), (String ((Ascii (true, false, true, false, false, true, true,
-       false)), (String ((Ascii (false, false, true, true, false, true, true,
-       false)), (String ((Ascii (false, false, true, false, false, true,
-       true, false)), EmptyString)))))))))))))))))))))))))) :: [])) :: (
-    (mkcut (S (S (S (S O)))) (S (S (S (S (S (S (S (S (S (S O))))))))))
-      (String ((Ascii (true, false, true, false, false, false, true, false)),
-      (String ((Ascii (false, true, true, true, false, true, true, false)),
-      (String ((Ascii (false, false, true, false, true, true, true, false)),
-      (String ((Ascii (false, true, false, false, true, true, true, false)),
-      (String ((Ascii (true, false, false, true, true, true, true, false)),
-      (String ((Ascii (true, false, false, false, false, false, true,
-      false)), (String ((Ascii (false, false, true, false, false, true, true,
-      false)), (String ((Ascii (false, false, true, false, false, true, true,
-      false)), (String ((Ascii (true, false, true, false, false, true, true,
-      false)), (String ((Ascii (false, true, true, true, false, true, true,
-      false)), (String ((Ascii (false, false, true, false, false, true, true,
-      false)), (String ((Ascii (true, false, false, false, false, true, true,
-      false)), (String ((Ascii (true, true, false, false, false, false, true,
-      false)), (String ((Ascii (true, true, true, true, false, true, true,
-      false)), (String ((Ascii (true, false, true, false, true, true, true,
-      false)), (String ((Ascii (false, true, true, true, false, true, true,
-      false)), (String ((Ascii (false, false, true, false, true, true, true,
-      false)), EmptyString)))))))))))))))))))))))))))))))))) ((String ((Ascii
-      (false, false, false, false, true, true, true, false)), (String ((Ascii
-      (true, false, false, false, false, true, true, false)), (String ((Ascii
-      (false, true, false, false, true, true, true, false)), (String ((Ascii
-      (true, true, false, false, true, true, true, false)), (String ((Ascii
-      (true, false, true, false, false, true, true, false)), (String ((Ascii
-      (false, true, true, true, false, false, true, false)), (String ((Ascii
-      (true, false, true, false, true, true, true, false)), (String ((Ascii
-      (true, false, true, true, false, true, true, false)), (String ((Ascii
-      (false, true, true, false, false, false, true, false)), (String ((Ascii
-      (true, false, false, true, false, true, true, false)), (String ((Ascii
-      (true, false, true, false, false, true, true, false)), (String ((Ascii
-      (false, false, true, true, false, true, true, false)), (String ((Ascii
-      (false, false, true, false, false, true, true, false)),
-      EmptyString)))))))))))))))))))))))))) :: [])) :: ((mkcut (S (S (S (S (S
-                                                          (S (S (S (S (S
-                                                          O)))))))))) (S (S
-                                                          (S (S (S (S (S (S
-                                                          (S (S (S (S (S (S
-                                                          (S (S (S (S (S (S
-                                                          O))))))))))))))))))))
-                                                          (String ((Ascii
-                                                          (true, false, true,
-                                                          false, false,
-                                                          false, true,
-                                                          false)), (String
-                                                          ((Ascii (false,
-                                                          true, true, true,
-                                                          false, true, true,
-                                                          false)), (String
-                                                          ((Ascii (false,
-                                                          false, true, false,
-                                                          true, true, true,
-                                                          false)), (String
-                                                          ((Ascii (false,
-                                                          true, false, false,
-                                                          true, true, true,
-                                                          false)), (String
-                                                          ((Ascii (true,
-                                                          false, false, true,
-                                                          true, true, true,
-                                                          false)), (String
-                                                          ((Ascii (false,
-                                                          false, false, true,
-                                                          false, false, true,
-                                                          false)), (String
-                                                          ((Ascii (true,
-                                                          false, false,
-                                                          false, false, true,
-                                                          true, false)),
-                                                          (String ((Ascii
-                                                          (true, true, false,
-                                                          false, true, true,
-                                                          true, false)),
-                                                          (String ((Ascii
-                                                          (false, false,
-                                                          false, true, false,
-                                                          true, true,
-                                                          false)),
-                                                          EmptyString))))))))))))))))))
-                                                          ((String ((Ascii
-                                                          (false, false,
-                                                          false, false, true,
-                                                          true, true,
-                                                          false)), (String
-                                                          ((Ascii (true,
-                                                          false, false,
-                                                          false, false, true,
-                                                          true, false)),
-                                                          (String ((Ascii
-                                                          (false, true,
-                                                          false, false, true,
-                                                          true, true,
-                                                          false)), (String
-                                                          ((Ascii (true,
-                                                          true, false, false,
-                                                          true, true, true,
-                                                          false)), (String
-                                                          ((Ascii (true,
-                                                          false, true, false,
-                                                          false, true, true,
-                                                          false)), (String
-                                                          ((Ascii (false,
-                                                          true, true, true,
-                                                          false, false, true,
-                                                          false)), (String
-                                                          ((Ascii (true,
-                                                          false, true, false,
-                                                          true, true, true,
-                                                          false)), (String
-                                                          ((Ascii (true,
-                                                          false, true, true,
-                                                          false, true, true,
-                                                          false)), (String
-                                                          ((Ascii (false,
-                                                          true, true, false,
-                                                          false, false, true,
-                                                          false)), (String
-                                                          ((Ascii (true,
-                                                          false, false, true,
-                                                          false, true, true,
-                                                          false)), (String
-                                                          ((Ascii (true,
-                                                          false, true, false,
-                                                          false, true, true,
-                                                          false)), (String
-                                                          ((Ascii (false,
-                                                          false, true, true,
-                                                          false, true, true,
-                                                          false)), (String
-                                                          ((Ascii (false,
-                                                          false, true, false,
-                                                          false, true, true,
-                                                          false)),
-                                                          EmptyString)))))))))))))))))))))))))) :: [])) :: (
-    (mkcut (S (S (S (S (S (S (S (S (S (S (S (S (S (S (S (S (S (S (S (S
-      O)))))))))))))))))))) (S (S (S (S (S (S (S (S (S (S (S (S (S (S (S (S
-      (S (S (S (S (S (S (S (S (S (S (S (S (S (S (S (S
-      O)))))))))))))))))))))))))))))))) (String ((Ascii (false, false, true,
-      false, true, false, true, false)), (String ((Ascii (true, true, true,
-      true, false, true, true, false)), (String ((Ascii (false, false, true,
-      false, true, true, true, false)), (String ((Ascii (true, false, false,
-      false, false, true, true, false)), (String ((Ascii (false, false, true,
-      true, false, true, true, false)), (String ((Ascii (false, false, true,
-      false, false, false, true, false)), (String ((Ascii (true, false, true,
-      false, false, true, true, false)), (String ((Ascii (false, true, false,
-      false, false, true, true, false)), (String ((Ascii (true, false, false,
-      true, false, true, true, false)), (String ((Ascii (false, false, true,
-      false, true, true, true, false)), (String ((Ascii (true, false, true,
-      false, false, false, true, false)), (String ((Ascii (false, true, true,
-      true, false, true, true, false)), (String ((Ascii (false, false, true,
-      false, true, true, true, false)), (String ((Ascii (false, true, false,
-      false, true, true, true, false)), (String ((Ascii (true, false, false,
-      true, true, true, true, false)), (String ((Ascii (false, false, true,
-      false, false, false, true, false)), (String ((Ascii (true, true, true,
-      true, false, true, true, false)), (String ((Ascii (false, false, true,
-      true, false, true, true, false)), (String ((Ascii (false, false, true,
-      true, false, true, true, false)), (String ((Ascii (true, false, false,
-      false, false, true, true, false)), (String ((Ascii (false, true, false,
-      false, true, true, true, false)), (String ((Ascii (true, false, false,
-      false, false, false, true, false)), (String ((Ascii (true, false, true,
-      true, false, true, true, false)), (String ((Ascii (true, true, true,
-      true, false, true, true, false)), (String ((Ascii (true, false, true,
-      false, true, true, true, false)), (String ((Ascii (false, true, true,
-      true, false, true, true, false)), (String ((Ascii (false, false, true,
-      false, true, true, true, false)),
-      EmptyString))))))))))))))))))))))))))))))))))))))))))))))))))))))
-      ((String ((Ascii (false, false, false, false, true, true, true,
-      false)), (String ((Ascii (true, false, false, false, false, true, true,
-      false)), (String ((Ascii (false, true, false, false, true, true, true,
-      false)), (String ((Ascii (true, true, false, false, true, true, true,
-      false)), (String ((Ascii (true, false, true, false, false, true, true,
-      false)), (String ((Ascii (false, true, true, true, false, false, true,
-      false)), (String ((Ascii (true, false, true, false, true, true, true,
-      false)), (String ((Ascii (true, false, true, true, false, true, true,
-      false)), (String ((Ascii (false, true, true, false, false, false, true,
-      false)), (String ((Ascii (true, false, false, true, false, true, true,
-      false)), (String ((Ascii (true, false, true, false, false, true, true,
-      false)), (String ((Ascii (false, false, true, true, false, true, true,
-      false)), (String ((Ascii (false, false, true, false, false, true, true,
-      false)), EmptyString)))))))))))))))))))))))))) :: [])) :: ((mkcut (S (S
-                                                                   (S (S (S
-                                                                   (S (S (S
-                                                                   (S (S (S
-                                                                   (S (S (S
-                                                                   (S (S (S
-                                                                   (S (S (S
-                                                                   (S (S (S
-                                                                   (S (S (S
-                                                                   (S (S (S
-                                                                   (S (S (S
-                                                                   O))))))))))))))))))))))))))))))))
-                                                                   (S (S (S
-                                                                   (S (S (S
-                                                                   (S (S (S
-                                                                   (S (S (S
-                                                                   (S (S (S
-                                                                   (S (S (S
-                                                                   (S (S (S
-                                                                   (S (S (S
-                                                                   (S (S (S
-                                                                   (S (S (S
-                                                                   (S (S (S
-                                                                   (S (S (S
-                                                                   (S (S (S
-                                                                   (S (S (S
-                                                                   (S (S
-                                                                   O))))))))))))))))))))))))))))))))))))))))))))
-                                                                   (String
-                                                                   ((Ascii
-                                                                   (false,
-                                                                   false,
-                                                                   true,
-                                                                   false,
-                                                                   true,
-                                                                   false,
-                                                                   true,
-                                                                   false)),
-                                                                   (String
-                                                                   ((Ascii
-                                                                   (true,
-                                                                   true,
-                                                                   true,
-                                                                   true,
-                                                                   false,
-                                                                   true,
-                                                                   true,
-                                                                   false)),
-                                                                   (String
-                                                                   ((Ascii
-                                                                   (false,
-                                                                   false,
-                                                                   true,
-                                                                   false,
-                                                                   true,
-                                                                   true,
-                                                                   true,
-                                                                   false)),
-                                                                   (String
-                                                                   ((Ascii
-                                                                   (true,
-                                                                   false,
-                                                                   false,
-                                                                   false,
-                                                                   false,
-                                                                   true,
-                                                                   true,
-                                                                   false)),
-                                                                   (String
-                                                                   ((Ascii
-                                                                   (false,
-                                                                   false,
-                                                                   true,
-                                                                   true,
-                                                                   false,
-                                                                   true,
-                                                                   true,
-                                                                   false)),
-                                                                   (String
-                                                                   ((Ascii
-                                                                   (true,
-                                                                   true,
-                                                                   false,
-                                                                   false,
-                                                                   false,
-                                                                   false,
-                                                                   true,
-                                                                   false)),
-                                                                   (String
-                                                                   ((Ascii
-                                                                   (false,
-                                                                   true,
-                                                                   false,
-                                                                   false,
-                                                                   true,
-                                                                   true,
-                                                                   true,
-                                                                   false)),
-                                                                   (String
-                                                                   ((Ascii
-                                                                   (true,
-                                                                   false,
-                                                                   true,
-                                                                   false,
-                                                                   false,
-                                                                   true,
-                                                                   true,
-                                                                   false)),
-                                                                   (String
-                                                                   ((Ascii
-                                                                   (false,
-                                                                   false,
-                                                                   true,
-                                                                   false,
-                                                                   false,
-                                                                   true,
-                                                                   true,
-                                                                   false)),
-                                                                   (String
-                                                                   ((Ascii
-                                                                   (true,
-                                                                   false,
-                                                                   false,
-                                                                   true,
-                                                                   false,
-                                                                   true,
-                                                                   true,
-                                                                   false)),
-                                                                   (String
-                                                                   ((Ascii
-                                                                   (false,
-                                                                   false,
-                                                                   true,
-                                                                   false,
-                                                                   true,
-                                                                   true,
-                                                                   true,
-                                                                   false)),
-                                                                   (String
-                                                                   ((Ascii
-                                                                   (true,
-                                                                   false,
-                                                                   true,
-                                                                   false,
-                                                                   false,
-                                                                   false,
-                                                                   true,
-                                                                   false)),
-                                                                   (String
-                                                                   ((Ascii
-                                                                   (false,
-                                                                   true,
-                                                                   true,
-                                                                   true,
-                                                                   false,
-                                                                   true,
-                                                                   true,
-                                                                   false)),
-                                                                   (String
-                                                                   ((Ascii
-                                                                   (false,
-                                                                   false,
-                                                                   true,
-                                                                   false,
-                                                                   true,
-                                                                   true,
-                                                                   true,
-                                                                   false)),
-                                                                   (String
-                                                                   ((Ascii
-                                                                   (false,
-                                                                   true,
-                                                                   false,
-                                                                   false,
-                                                                   true,
-                                                                   true,
-                                                                   true,
-                                                                   false)),
-                                                                   (String
-                                                                   ((Ascii
-                                                                   (true,
-                                                                   false,
-                                                                   false,
-                                                                   true,
-                                                                   true,
-                                                                   true,
-                                                                   true,
-                                                                   false)),
-                                                                   (String
-                                                                   ((Ascii
-                                                                   (false,
-                                                                   false,
-                                                                   true,
-                                                                   false,
-                                                                   false,
-                                                                   false,
-                                                                   true,
-                                                                   false)),
-                                                                   (String
-                                                                   ((Ascii
-                                                                   (true,
-                                                                   true,
-                                                                   true,
-                                                                   true,
-                                                                   false,
-                                                                   true,
-                                                                   true,
-                                                                   false)),
-                                                                   (String
-                                                                   ((Ascii
-                                                                   (false,
-                                                                   false,
-                                                                   true,
-                                                                   true,
-                                                                   false,
-                                                                   true,
-                                                                   true,
-                                                                   false)),
-                                                                   (String
-                                                                   ((Ascii
-                                                                   (false,
-                                                                   false,
-                                                                   true,
-                                                                   true,
-                                                                   false,
-                                                                   true,
-                                                                   true,
-                                                                   false)),
-                                                                   (String
-                                                                   ((Ascii
-                                                                   (true,
-                                                                   false,
-                                                                   false,
-                                                                   false,
-                                                                   false,
-                                                                   true,
-                                                                   true,
-                                                                   false)),
-                                                                   (String
-                                                                   ((Ascii
-                                                                   (false,
-                                                                   true,
-                                                                   false,
-                                                                   false,
-                                                                   true,
-                                                                   true,
-                                                                   true,
-                                                                   false)),
-                                                                   (String
-                                                                   ((Ascii
-                                                                   (true,
-                                                                   false,
-                                                                   false,
-                                                                   false,
-                                                                   false,
-                                                                   false,
-                                                                   true,
-                                                                   false)),
-                                                                   (String
-                                                                   ((Ascii
-                                                                   (true,
-                                                                   false,
-                                                                   true,
-                                                                   true,
-                                                                   false,
-                                                                   true,
-                                                                   true,
-                                                                   false)),
-                                                                   (String
-                                                                   ((Ascii
-                                                                   (true,
-                                                                   true,
-                                                                   true,
-                                                                   true,
-                                                                   false,
-                                                                   true,
-                                                                   true,
-                                                                   false)),
-                                                                   (String
-                                                                   ((Ascii
-                                                                   (true,
-                                                                   false,
-                                                                   true,
-                                                                   false,
-                                                                   true,
-                                                                   true,
-                                                                   true,
-                                                                   false)),
-                                                                   (String
-                                                                   ((Ascii
-                                                                   (false,
-                                                                   true,
-                                                                   true,
-                                                                   true,
-                                                                   false,
-                                                                   true,
-                                                                   true,
-                                                                   false)),
-                                                                   (String
-                                                                   ((Ascii
-                                                                   (false,
-                                                                   false,
-                                                                   true,
-                                                                   false,
-                                                                   true,
-                                                                   true,
-                                                                   true,
-                                                                   false)),
-                                                                   EmptyString))))))))))))))))))))))))))))))))))))))))))))))))))))))))
-                                                                   ((String
-                                                                   ((Ascii
-                                                                   (false,
-                                                                   false,
-                                                                   false,
-                                                                   false,
-                                                                   true,
-                                                                   true,
-                                                                   true,
-                                                                   false)),
-                                                                   (String
-                                                                   ((Ascii
-                                                                   (true,
-                                                                   false,
-                                                                   false,
-                                                                   false,
-                                                                   false,
-                                                                   true,
-                                                                   true,
-                                                                   false)),
-                                                                   (String
-                                                                   ((Ascii
-                                                                   (false,
-                                                                   true,
-                                                                   false,
-                                                                   false,
-                                                                   true,
-                                                                   true,
-                                                                   true,
-                                                                   false)),
-                                                                   (String
-                                                                   ((Ascii
-                                                                   (true,
-                                                                   true,
-                                                                   false,
-                                                                   false,
-                                                                   true,
-                                                                   true,
-                                                                   true,
-                                                                   false)),
-                                                                   (String
-                                                                   ((Ascii
-                                                                   (true,
-                                                                   false,
-                                                                   true,
-                                                                   false,
-                                                                   false,
-                                                                   true,
-                                                                   true,
-                                                                   false)),
-                                                                   (String
-                                                                   ((Ascii
-                                                                   (false,
-                                                                   true,
-                                                                   true,
-                                                                   true,
-                                                                   false,
-                                                                   false,
-                                                                   true,
-                                                                   false)),
-                                                                   (String
-                                                                   ((Ascii
-                                                                   (true,
-                                                                   false,
-                                                                   true,
-                                                                   false,
-                                                                   true,
-                                                                   true,
-                                                                   true,
-                                                                   false)),
-                                                                   (String
-                                                                   ((Ascii
-                                                                   (true,
-                                                                   false,
-                                                                   true,
-                                                                   true,
-                                                                   false,
-                                                                   true,
-                                                                   true,
-                                                                   false)),
-                                                                   (String
-                                                                   ((Ascii
-                                                                   (false,
-                                                                   true,
-                                                                   true,
-                                                                   false,
-                                                                   false,
-                                                                   false,
-                                                                   true,
-                                                                   false)),
-                                                                   (String
-                                                                   ((Ascii
-                                                                   (true,
-                                                                   false,
-                                                                   false,
-                                                                   true,
-                                                                   false,
-                                                                   true,
-                                                                   true,
-                                                                   false)),
-                                                                   (String
-                                                                   ((Ascii
-                                                                   (true,
-                                                                   false,
-                                                                   true,
-                                                                   false,
-                                                                   false,
-                                                                   true,
-                                                                   true,
-                                                                   false)),
-                                                                   (String
-                                                                   ((Ascii
-                                                                   (false,
-                                                                   false,
-                                                                   true,
-                                                                   true,
-                                                                   false,
-                                                                   true,
-                                                                   true,
-                                                                   false)),
-                                                                   (String
-                                                                   ((Ascii
-                                                                   (false,
-                                                                   false,
-                                                                   true,
-                                                                   false,
-                                                                   false,
-                                                                   true,
-                                                                   true,
-                                                                   false)),
-                                                                   EmptyString)))))))))))))))))))))))))) :: [])) :: (
-    (mkcut (S (S (S (S (S (S (S (S (S (S (S (S (S (S (S (S (S (S (S (S (S (S
-      (S (S (S (S (S (S (S (S (S (S (S (S (S (S (S (S (S (S (S (S (S (S
-      O)))))))))))))))))))))))))))))))))))))))))))) (S (S (S (S (S (S (S (S
-      (S (S (S (S (S (S (S (S (S (S (S (S (S (S (S (S (S (S (S (S (S (S (S (S
-      (S (S (S (S (S (S (S (S (S (S (S (S (S (S (S (S (S (S (S (S (S (S
-      O)))))))))))))))))))))))))))))))))))))))))))))))))))))) (String ((Ascii
-      (true, true, false, false, false, false, true, false)), (String ((Ascii
-      (true, true, true, true, false, true, true, false)), (String ((Ascii
-      (true, false, true, true, false, true, true, false)), (String ((Ascii
-      (false, false, false, false, true, true, true, false)), (String ((Ascii
-      (true, false, false, false, false, true, true, false)), (String ((Ascii
-      (false, true, true, true, false, true, true, false)), (String ((Ascii
-      (true, false, false, true, true, true, true, false)), (String ((Ascii
-      (true, false, false, true, false, false, true, false)), (String ((Ascii
-      (false, false, true, false, false, true, true, false)), (String ((Ascii
-      (true, false, true, false, false, true, true, false)), (String ((Ascii
-      (false, true, true, true, false, true, true, false)), (String ((Ascii
-      (false, false, true, false, true, true, true, false)), (String ((Ascii
-      (true, false, false, true, false, true, true, false)), (String ((Ascii
-      (false, true, true, false, false, true, true, false)), (String ((Ascii
-      (true, false, false, true, false, true, true, false)), (String ((Ascii
-      (true, true, false, false, false, true, true, false)), (String ((Ascii
-      (true, false, false, false, false, true, true, false)), (String ((Ascii
-      (false, false, true, false, true, true, true, false)), (String ((Ascii
-      (true, false, false, true, false, true, true, false)), (String ((Ascii
-      (true, true, true, true, false, true, true, false)), (String ((Ascii
-      (false, true, true, true, false, true, true, false)),
-      EmptyString)))))))))))))))))))))))))))))))))))))))))) ((String ((Ascii
-      (false, false, false, false, true, true, true, false)), (String ((Ascii
-      (true, false, false, false, false, true, true, false)), (String ((Ascii
-      (false, true, false, false, true, true, true, false)), (String ((Ascii
-      (true, true, false, false, true, true, true, false)), (String ((Ascii
-      (true, false, true, false, false, true, true, false)), (String ((Ascii
-      (true, true, false, false, true, false, true, false)), (String ((Ascii
-      (false, false, true, false, true, true, true, false)), (String ((Ascii
-      (false, true, false, false, true, true, true, false)), (String ((Ascii
-      (true, false, false, true, false, true, true, false)), (String ((Ascii
-      (false, true, true, true, false, true, true, false)), (String ((Ascii
-      (true, true, true, false, false, true, true, false)), (String ((Ascii
-      (false, true, true, false, false, false, true, false)), (String ((Ascii
-      (true, false, false, true, false, true, true, false)), (String ((Ascii
-      (true, false, true, false, false, true, true, false)), (String ((Ascii
-      (false, false, true, true, false, true, true, false)), (String ((Ascii
-      (false, false, true, false, false, true, true, false)), (String ((Ascii
-      (true, true, true, false, true, false, true, false)), (String ((Ascii
-      (true, false, false, true, false, true, true, false)), (String ((Ascii
-      (false, false, true, false, true, true, true, false)), (String ((Ascii
-      (false, false, false, true, false, true, true, false)), (String ((Ascii
-      (true, true, true, true, false, false, true, false)), (String ((Ascii
-      (false, false, false, false, true, true, true, false)), (String ((Ascii
-      (false, false, true, false, true, true, true, false)), (String ((Ascii
-      (true, true, false, false, true, true, true, false)),
-      EmptyString)))))))))))))))))))))))))))))))))))))))))))))))) :: [])) :: (
-    (mkcut (S (S (S (S (S (S (S (S (S (S (S (S (S (S (S (S (S (S (S (S (S (S
-      (S (S (S (S (S (S (S (S (S (S (S (S (S (S (S (S (S (S (S (S (S (S (S (S
-      (S (S (S (S (S (S (S (S
-      O)))))))))))))))))))))))))))))))))))))))))))))))))))))) (S (S (S (S (S
-      (S (S (S (S (S (S (S (S (S (S (S (S (S (S (S (S (S (S (S (S (S (S (S (S
-      (S (S (S (S (S (S (S (S (S (S (S (S (S (S (S (S (S (S (S (S (S (S (S (S
-      (S (S (S (S (S (S (S (S (S (S (S (S (S (S (S (S (S (S (S (S
-      O)))))))))))))))))))))))))))))))))))))))))))))))))))))))))))))))))))))))))
-      (String ((Ascii (true, false, true, true, false, false, true, false)),
-      (String ((Ascii (true, false, true, false, false, true, true, false)),
-      (String ((Ascii (true, true, false, false, true, true, true, false)),
-      (String ((Ascii (true, true, false, false, true, true, true, false)),
-      (String ((Ascii (true, false, false, false, false, true, true, false)),
-      (String ((Ascii (true, true, true, false, false, true, true, false)),
-      (String ((Ascii (true, false, true, false, false, true, true, false)),
-      (String ((Ascii (true, false, false, false, false, false, true,
-      false)), (String ((Ascii (true, false, true, false, true, true, true,
-      false)), (String ((Ascii (false, false, true, false, true, true, true,
-      false)), (String ((Ascii (false, false, false, true, false, true, true,
-      false)), (String ((Ascii (true, false, true, false, false, true, true,
-      false)), (String ((Ascii (false, true, true, true, false, true, true,
-      false)), (String ((Ascii (false, false, true, false, true, true, true,
-      false)), (String ((Ascii (true, false, false, true, false, true, true,
-      false)), (String ((Ascii (true, true, false, false, false, true, true,
-      false)), (String ((Ascii (true, false, false, false, false, true, true,
-      false)), (String ((Ascii (false, false, true, false, true, true, true,
-      false)), (String ((Ascii (true, false, false, true, false, true, true,
-      false)), (String ((Ascii (true, true, true, true, false, true, true,
-      false)), (String ((Ascii (false, true, true, true, false, true, true,
-      false)), (String ((Ascii (true, true, false, false, false, false, true,
-      false)), (String ((Ascii (true, true, true, true, false, true, true,
-      false)), (String ((Ascii (false, false, true, false, false, true, true,
-      false)), (String ((Ascii (true, false, true, false, false, true, true,
-      false)), EmptyString))))))))))))))))))))))))))))))))))))))))))))))))))
-      ((String ((Ascii (false, false, false, false, true, true, true,
-      false)), (String ((Ascii (true, false, false, false, false, true, true,
-      false)), (String ((Ascii (false, true, false, false, true, true, true,
-      false)), (String ((Ascii (true, true, false, false, true, true, true,
-      false)), (String ((Ascii (true, false, true, false, false, true, true,
-      false)), (String ((Ascii (true, true, false, false, true, false, true,
-      false)), (String ((Ascii (false, false, true, false, true, true, true,
-      false)), (String ((Ascii (false, true, false, false, true, true, true,
-      false)), (String ((Ascii (true, false, false, true, false, true, true,
-      false)), (String ((Ascii (false, true, true, true, false, true, true,
-      false)), (String ((Ascii (true, true, true, false, false, true, true,
-      false)), (String ((Ascii (false, true, true, false, false, false, true,
-      false)), (String ((Ascii (true, false, false, true, false, true, true,
-      false)), (String ((Ascii (true, false, true, false, false, true, true,
-      false)), (String ((Ascii (false, false, true, true, false, true, true,
-      false)), (String ((Ascii (false, false, true, false, false, true, true,
-      false)), (String ((Ascii (true, true, true, false, true, false, true,
-      false)), (String ((Ascii (true, false, false, true, false, true, true,
-      false)), (String ((Ascii (false, false, true, false, true, true, true,
-      false)), (String ((Ascii (false, false, false, true, false, true, true,
-      false)), (String ((Ascii (true, true, true, true, false, false, true,
-      false)), (String ((Ascii (false, false, false, false, true, true, true,
-      false)), (String ((Ascii (false, false, true, false, true, true, true,
-      false)), (String ((Ascii (true, true, false, false, true, true, true,
-      false)),
-      EmptyString)))))))))))))))))))))))))))))))))))))))))))))))) :: [])) :: (
-    (mkcut (S (S (S (S (S (S (S (S (S (S (S (S (S (S (S (S (S (S (S (S (S (S
-      (S (S (S (S (S (S (S (S (S (S (S (S (S (S (S (S (S (S (S (S (S (S (S (S
-      (S (S (S (S (S (S (S (S (S (S (S (S (S (S (S (S (S (S (S (S (S (S (S (S
-      (S (S (S (S (S (S (S (S (S
-      O)))))))))))))))))))))))))))))))))))))))))))))))))))))))))))))))))))))))))))))))
-      (S (S (S (S (S (S (S (S (S (S (S (S (S (S (S (S (S (S (S (S (S (S (S (S
-      (S (S (S (S (S (S (S (S (S (S (S (S (S (S (S (S (S (S (S (S (S (S (S (S
-      (S (S (S (S (S (S (S (S (S (S (S (S (S (S (S (S (S (S (S (S (S (S (S (S
-      (S (S (S (S (S (S (S (S (S (S (S (S (S (S (S
-      O)))))))))))))))))))))))))))))))))))))))))))))))))))))))))))))))))))))))))))))))))))))))
-      (String ((Ascii (true, true, true, true, false, false, true, false)),
-      (String ((Ascii (false, false, true, false, false, false, true,
-      false)), (String ((Ascii (false, true, true, false, false, false, true,
-      false)), (String ((Ascii (true, false, false, true, false, false, true,
-      false)), (String ((Ascii (true, false, false, true, false, false, true,
-      false)), (String ((Ascii (false, false, true, false, false, true, true,
-      false)), (String ((Ascii (true, false, true, false, false, true, true,
-      false)), (String ((Ascii (false, true, true, true, false, true, true,
-      false)), (String ((Ascii (false, false, true, false, true, true, true,
-      false)), (String ((Ascii (true, false, false, true, false, true, true,
-      false)), (String ((Ascii (false, true, true, false, false, true, true,
-      false)), (String ((Ascii (true, false, false, true, false, true, true,
-      false)), (String ((Ascii (true, true, false, false, false, true, true,
-      false)), (String ((Ascii (true, false, false, false, false, true, true,
-      false)), (String ((Ascii (false, false, true, false, true, true, true,
-      false)), (String ((Ascii (true, false, false, true, false, true, true,
-      false)), (String ((Ascii (true, true, true, true, false, true, true,
-      false)), (String ((Ascii (false, true, true, true, false, true, true,
-      false)), EmptyString)))))))))))))))))))))))))))))))))))) ((String
-      ((Ascii (false, false, false, false, true, true, true, false)), (String
-      ((Ascii (true, false, false, false, false, true, true, false)), (String
-      ((Ascii (false, true, false, false, true, true, true, false)), (String
-      ((Ascii (true, true, false, false, true, true, true, false)), (String
-      ((Ascii (true, false, true, false, false, true, true, false)), (String
-      ((Ascii (true, true, false, false, true, false, true, false)), (String
-      ((Ascii (false, false, true, false, true, true, true, false)), (String
-      ((Ascii (false, true, false, false, true, true, true, false)), (String
-      ((Ascii (true, false, false, true, false, true, true, false)), (String
-      ((Ascii (false, true, true, true, false, true, true, false)), (String
-      ((Ascii (true, true, true, false, false, true, true, false)), (String
-      ((Ascii (false, true, true, false, false, false, true, false)), (String
-      ((Ascii (true, false, false, true, false, true, true, false)), (String
-      ((Ascii (true, false, true, false, false, true, true, false)), (String
-      ((Ascii (false, false, true, true, false, true, true, false)), (String
-      ((Ascii (false, false, true, false, false, true, true, false)), (String
-      ((Ascii (true, true, true, false, true, false, true, false)), (String
-      ((Ascii (true, false, false, true, false, true, true, false)), (String
-      ((Ascii (false, false, true, false, true, true, true, false)), (String
-      ((Ascii (false, false, false, true, false, true, true, false)), (String
-      ((Ascii (true, true, true, true, false, false, true, false)), (String
-      ((Ascii (false, false, false, false, true, true, true, false)), (String
-      ((Ascii (false, false, true, false, true, true, true, false)), (String
-      ((Ascii (true, true, false, false, true, true, true, false)),
-      EmptyString)))))))))))))))))))))))))))))))))))))))))))))))) :: [])) :: (
-    (mkcut (S (S (S (S (S (S (S (S (S (S (S (S (S (S (S (S (S (S (S (S (S (S
-      (S (S (S (S (S (S (S (S (S (S (S (S (S (S (S (S (S (S (S (S (S (S (S (S
-      (S (S (S (S (S (S (S (S (S (S (S (S (S (S (S (S (S (S (S (S (S (S (S (S
-      (S (S (S (S (S (S (S (S (S (S (S (S (S (S (S (S (S
-      O)))))))))))))))))))))))))))))))))))))))))))))))))))))))))))))))))))))))))))))))))))))))
-      (S (S (S (S (S (S (S (S (S (S (S (S (S (S (S (S (S (S (S (S (S (S (S (S
-      (S (S (S (S (S (S (S (S (S (S (S (S (S (S (S (S (S (S (S (S (S (S (S (S
-      (S (S (S (S (S (S (S (S (S (S (S (S (S (S (S (S (S (S (S (S (S (S (S (S
-      (S (S (S (S (S (S (S (S (S (S (S (S (S (S (S (S (S (S (S (S (S (S
-      O))))))))))))))))))))))))))))))))))))))))))))))))))))))))))))))))))))))))))))))))))))))))))))))
-      (String ((Ascii (false, true, false, false, false, false, true,
-      false)), (String ((Ascii (true, false, false, false, false, true, true,
-      false)), (String ((Ascii (false, false, true, false, true, true, true,
-      false)), (String ((Ascii (true, true, false, false, false, true, true,
-      false)), (String ((Ascii (false, false, false, true, false, true, true,
-      false)), (String ((Ascii (false, true, true, true, false, false, true,
-      false)), (String ((Ascii (true, false, true, false, true, true, true,
-      false)), (String ((Ascii (true, false, true, true, false, true, true,
-      false)), (String ((Ascii (false, true, false, false, false, true, true,
-      false)), (String ((Ascii (true, false, true, false, false, true, true,
-      false)), (String ((Ascii (false, true, false, false, true, true, true,
-      false)), EmptyString)))))))))))))))))))))) ((String ((Ascii (false,
-      false, false, false, true, true, true, false)), (String ((Ascii (true,
-      false, false, false, false, true, true, false)), (String ((Ascii
-      (false, true, false, false, true, true, true, false)), (String ((Ascii
-      (true, true, false, false, true, true, true, false)), (String ((Ascii
-      (true, false, true, false, false, true, true, false)), (String ((Ascii
-      (false, true, true, true, false, false, true, false)), (String ((Ascii
-      (true, false, true, false, true, true, true, false)), (String ((Ascii
-      (true, false, true, true, false, true, true, false)), (String ((Ascii
-      (false, true, true, false, false, false, true, false)), (String ((Ascii
-      (true, false, false, true, false, true, true, false)), (String ((Ascii
-      (true, false, true, false, false, true, true, false)), (String ((Ascii
-      (false, false, true, true, false, true, true, false)), (String ((Ascii
-      (false, false, true, false, false, true, true, false)),
-      EmptyString)))))))))))))))))))))))))) :: [])) :: []))))))))) }
+let rec chop fuel c l =
+  match fuel with
+  | O -> (match l with
+          | [] -> []
+          | _ :: _ -> l :: [])
+  | S f ->
+    (match l with
+     | [] -> []
+     | _ :: _ -> (firstn c l) :: (chop f c (skipn c l)))
 
-(** val l_BatchHeader : layout **)
+(** val chunked : nat -> bytes -> bytes list **)
 
-let l_BatchHeader =
-  { l_name = (String ((Ascii (false, true, false, false, false, false, true,
-    false)), (String ((Ascii (true, false, false, false, false, true, true,
-    false)), (String ((Ascii (false, false, true, false, true, true, true,
-    false)), (String ((Ascii (true, true, false, false, false, true, true,
-    false)), (String ((Ascii (false, false, false, true, false, true, true,
-    false)), (String ((Ascii (false, false, false, true, false, false, true,
-    false)), (String ((Ascii (true, false, true, false, false, true, true,
-    false)), (String ((Ascii (true, false, false, false, false, true, true,
-    false)), (String ((Ascii (false, false, true, false, false, true, true,
-    false)), (String ((Ascii (true, false, true, false, false, true, true,
-    false)), (String ((Ascii (false, true, false, false, true, true, true,
-    false)), EmptyString)))))))))))))))))))))); l_ix = IRune; l_segs = ((SLit
-    ((Npos (XI (XO (XI (XO (XI XH)))))) :: [])) :: ((SItoa (String ((Ascii
-    (true, true, false, false, true, false, true, false)), (String ((Ascii
-    (true, false, true, false, false, true, true, false)), (String ((Ascii
-    (false, true, false, false, true, true, true, false)), (String ((Ascii
-    (false, true, true, false, true, true, true, false)), (String ((Ascii
-    (true, false, false, true, false, true, true, false)), (String ((Ascii
-    (true, true, false, false, false, true, true, false)), (String ((Ascii
-    (true, false, true, false, false, true, true, false)), (String ((Ascii
-    (true, true, false, false, false, false, true, false)), (String ((Ascii
-    (false, false, true, true, false, true, true, false)), (String ((Ascii
-    (true, false, false, false, false, true, true, false)), (String ((Ascii
-    (true, true, false, false, true, true, true, false)), (String ((Ascii
-    (true, true, false, false, true, true, true, false)), (String ((Ascii
-    (true, true, false, false, false, false, true, false)), (String ((Ascii
-    (true, true, true, true, false, true, true, false)), (String ((Ascii
-    (false, false, true, false, false, true, true, false)), (String ((Ascii
-    (true, false, true, false, false, true, true, false)),
-    EmptyString))))))))))))))))))))))))))))))))) :: ((SAlpha ((String ((Ascii
-    (true, true, false, false, false, false, true, false)), (String ((Ascii
-    (true, true, true, true, false, true, true, false)), (String ((Ascii
-    (true, false, true, true, false, true, true, false)), (String ((Ascii
-    (false, false, false, false, true, true, true, false)), (String ((Ascii
-    (true, false, false, false, false, true, true, false)), (String ((Ascii
-    (false, true, true, true, false, true, true, false)), (String ((Ascii
-    (true, false, false, true, true, true, true, false)), (String ((Ascii
-    (false, true, true, true, false, false, true, false)), (String ((Ascii
-    (true, false, false, false, false, true, true, false)), (String ((Ascii
-    (true, false, true, true, false, true, true, false)), (String ((Ascii
-    (true, false, true, false, false, true, true, false)),
-    EmptyString)))))))))))))))))))))), (S (S (S (S (S (S (S (S (S (S (S (S (S
-    (S (S (S O)))))))))))))))))) :: ((SAlpha ((String ((Ascii (true, true,
-    false, false, false, false, true, false)), (String ((Ascii (true, true,
-    true, true, false, true, true, false)), (String ((Ascii (true, false,
-    true, true, false, true, true, false)), (String ((Ascii (false, false,
-    false, false, true, true, true, false)), (String ((Ascii (true, false,
-    false, false, false, true, true, false)), (String ((Ascii (false, true,
-    true, true, false, true, true, false)), (String ((Ascii (true, false,
-    false, true, true, true, true, false)), (String ((Ascii (false, false,
-    true, false, false, false, true, false)), (String ((Ascii (true, false,
-    false, true, false, true, true, false)), (String ((Ascii (true, true,
-    false, false, true, true, true, false)), (String ((Ascii (true, true,
-    false, false, false, true, true, false)), (String ((Ascii (false, true,
-    false, false, true, true, true, false)), (String ((Ascii (true, false,
-    true, false, false, true, true, false)), (String ((Ascii (false, false,
-    true, false, true, true, true, false)), (String ((Ascii (true, false,
-    false, true, false, true, true, false)), (String ((Ascii (true, true,
-    true, true, false, true, true, false)), (String ((Ascii (false, true,
-    true, true, false, true, true, false)), (String ((Ascii (true, false,
-    false, false, false, true, true, false)), (String ((Ascii (false, true,
-    false, false, true, true, true, false)), (String ((Ascii (true, false,
-    false, true, true, true, true, false)), (String ((Ascii (false, false,
-    true, false, false, false, true, false)), (String ((Ascii (true, false,
-    false, false, false, true, true, false)), (String ((Ascii (false, false,
-    true, false, true, true, true, false)), (String ((Ascii (true, false,
-    false, false, false, true, true, false)),
-    EmptyString)))))))))))))))))))))))))))))))))))))))))))))))), (S (S (S (S
-    (S (S (S (S (S (S (S (S (S (S (S (S (S (S (S (S
-    O)))))))))))))))))))))) :: ((SAlpha ((String ((Ascii (true, true, false,
-    false, false, false, true, false)), (String ((Ascii (true, true, true,
-    true, false, true, true, false)), (String ((Ascii (true, false, true,
-    true, false, true, true, false)), (String ((Ascii (false, false, false,
-    false, true, true, true, false)), (String ((Ascii (true, false, false,
-    false, false, true, true, false)), (String ((Ascii (false, true, true,
-    true, false, true, true, false)), (String ((Ascii (true, false, false,
-    true, true, true, true, false)), (String ((Ascii (true, false, false,
-    true, false, false, true, false)), (String ((Ascii (false, false, true,
-    false, false, true, true, false)), (String ((Ascii (true, false, true,
-    false, false, true, true, false)), (String ((Ascii (false, true, true,
-    true, false, true, true, false)), (String ((Ascii (false, false, true,
-    false, true, true, true, false)), (String ((Ascii (true, false, false,
-    true, false, true, true, false)), (String ((Ascii (false, true, true,
-    false, false, true, true, false)), (String ((Ascii (true, false, false,
-    true, false, true, true, false)), (String ((Ascii (true, true, false,
-    false, false, true, true, false)), (String ((Ascii (true, false, false,
-    false, false, true, true, false)), (String ((Ascii (false, false, true,
-    false, true, true, true, false)), (String ((Ascii (true, false, false,
-    true, false, true, true, false)), (String ((Ascii (true, true, true,
-    true, false, true, true, false)), (String ((Ascii (false, true, true,
-    true, false, true, true, false)),
-    EmptyString)))))))))))))))))))))))))))))))))))))))))), (S (S (S (S (S (S
-    (S (S (S (S O)))))))))))) :: ((SRaw (String ((Ascii (true, true, false,
-    false, true, false, true, false)), (String ((Ascii (false, false, true,
-    false, true, true, true, false)), (String ((Ascii (true, false, false,
-    false, false, true, true, false)), (String ((Ascii (false, true, true,
-    true, false, true, true, false)), (String ((Ascii (false, false, true,
-    false, false, true, true, false)), (String ((Ascii (true, false, false,
-    false, false, true, true, false)), (String ((Ascii (false, true, false,
-    false, true, true, true, false)), (String ((Ascii (false, false, true,
-    false, false, true, true, false)), (String ((Ascii (true, false, true,
-    false, false, false, true, false)), (String ((Ascii (false, true, true,
-    true, false, true, true, false)), (String ((Ascii (false, false, true,
-    false, true, true, true, false)), (String ((Ascii (false, true, false,
-    false, true, true, true, false)), (String ((Ascii (true, false, false,
-    true, true, true, true, false)), (String ((Ascii (true, true, false,
-    false, false, false, true, false)), (String ((Ascii (false, false, true,
-    true, false, true, true, false)), (String ((Ascii (true, false, false,
-    false, false, true, true, false)), (String ((Ascii (true, true, false,
-    false, true, true, true, false)), (String ((Ascii (true, true, false,
-    false, true, true, true, false)), (String ((Ascii (true, true, false,
-    false, false, false, true, false)), (String ((Ascii (true, true, true,
-    true, false, true, true, false)), (String ((Ascii (false, false, true,
-    false, false, true, true, false)), (String ((Ascii (true, false, true,
-    false, false, true, true, false)),
-    EmptyString))))))))))))))))))))))))))))))))))))))))))))) :: ((SAlpha
-    ((String ((Ascii (true, true, false, false, false, false, true, false)),
-    (String ((Ascii (true, true, true, true, false, true, true, false)),
-    (String ((Ascii (true, false, true, true, false, true, true, false)),
-    (String ((Ascii (false, false, false, false, true, true, true, false)),
-    (String ((Ascii (true, false, false, false, false, true, true, false)),
-    (String ((Ascii (false, true, true, true, false, true, true, false)),
-    (String ((Ascii (true, false, false, true, true, true, true, false)),
-    (String ((Ascii (true, false, true, false, false, false, true, false)),
-    (String ((Ascii (false, true, true, true, false, true, true, false)),
-    (String ((Ascii (false, false, true, false, true, true, true, false)),
-    (String ((Ascii (false, true, false, false, true, true, true, false)),
-    (String ((Ascii (true, false, false, true, true, true, true, false)),
-    (String ((Ascii (false, false, true, false, false, false, true, false)),
-    (String ((Ascii (true, false, true, false, false, true, true, false)),
-    (String ((Ascii (true, true, false, false, true, true, true, false)),
-    (String ((Ascii (true, true, false, false, false, true, true, false)),
-    (String ((Ascii (false, true, false, false, true, true, true, false)),
-    (String ((Ascii (true, false, false, true, false, true, true, false)),
-    (String ((Ascii (false, false, false, false, true, true, true, false)),
-    (String ((Ascii (false, false, true, false, true, true, true, false)),
-    (String ((Ascii (true, false, false, true, false, true, true, false)),
-    (String ((Ascii (true, true, true, true, false, true, true, false)),
-    (String ((Ascii (false, true, true, true, false, true, true, false)),
-    EmptyString)))))))))))))))))))))))))))))))))))))))))))))), (S (S (S (S (S
-    (S (S (S (S (S O)))))))))))) :: ((SAlpha ((String ((Ascii (true, true,
-    false, false, false, false, true, false)), (String ((Ascii (true, true,
-    true, true, false, true, true, false)), (String ((Ascii (true, false,
-    true, true, false, true, true, false)), (String ((Ascii (false, false,
-    false, false, true, true, true, false)), (String ((Ascii (true, false,
-    false, false, false, true, true, false)), (String ((Ascii (false, true,
-    true, true, false, true, true, false)), (String ((Ascii (true, false,
-    false, true, true, true, true, false)), (String ((Ascii (false, false,
-    true, false, false, false, true, false)), (String ((Ascii (true, false,
-    true, false, false, true, true, false)), (String ((Ascii (true, true,
-    false, false, true, true, true, false)), (String ((Ascii (true, true,
-    false, false, false, true, true, false)), (String ((Ascii (false, true,
-    false, false, true, true, true, false)), (String ((Ascii (true, false,
-    false, true, false, true, true, false)), (String ((Ascii (false, false,
-    false, false, true, true, true, false)), (String ((Ascii (false, false,
-    true, false, true, true, true, false)), (String ((Ascii (true, false,
-    false, true, false, true, true, false)), (String ((Ascii (false, true,
-    true, false, true, true, true, false)), (String ((Ascii (true, false,
-    true, false, false, true, true, false)), (String ((Ascii (false, false,
-    true, false, false, false, true, false)), (String ((Ascii (true, false,
-    false, false, false, true, true, false)), (String ((Ascii (false, false,
-    true, false, true, true, true, false)), (String ((Ascii (true, false,
-    true, false, false, true, true, false)),
-    EmptyString)))))))))))))))))))))))))))))))))))))))))))), (S (S (S (S (S
-    (S O)))))))) :: ((SCustom ((String ((Ascii (false, true, false, false,
-    false, false, true, false)), (String ((Ascii (true, false, false, false,
-    false, true, true, false)), (String ((Ascii (false, false, true, false,
-    true, true, true, false)), (String ((Ascii (true, true, false, false,
-    false, true, true, false)), (String ((Ascii (false, false, false, true,
-    false, true, true, false)), (String ((Ascii (false, false, false, true,
-    false, false, true, false)), (String ((Ascii (true, false, true, false,
-    false, true, true, false)), (String ((Ascii (true, false, false, false,
-    false, true, true, false)), (String ((Ascii (false, false, true, false,
-    false, true, true, false)), (String ((Ascii (true, false, true, false,
-    false, true, true, false)), (String ((Ascii (false, true, false, false,
-    true, true, true, false)), (String ((Ascii (false, true, true, true,
-    false, true, false, false)), (String ((Ascii (true, false, true, false,
-    false, false, true, false)), (String ((Ascii (false, true, true, false,
-    false, true, true, false)), (String ((Ascii (false, true, true, false,
-    false, true, true, false)), (String ((Ascii (true, false, true, false,
-    false, true, true, false)), (String ((Ascii (true, true, false, false,
-    false, true, true, false)), (String ((Ascii (false, false, true, false,
-    true, true, true, false)), (String ((Ascii (true, false, false, true,
-    false, true, true, false)), (String ((Ascii (false, true, true, false,
-    true, true, true, false)), (String ((Ascii (true, false, true, false,
-    false, true, true, false)), (String ((Ascii (true, false, true, false,
-    false, false, true, false)), (String ((Ascii (false, true, true, true,
-    false, true, true, false)), (String ((Ascii (false, false, true, false,
-    true, true, true, false)), (String ((Ascii (false, true, false, false,
-    true, true, true, false)), (String ((Ascii (true, false, false, true,
-    true, true, true, false)), (String ((Ascii (false, false, true, false,
-    false, false, true, false)), (String ((Ascii (true, false, false, false,
-    false, true, true, false)), (String ((Ascii (false, false, true, false,
-    true, true, true, false)), (String ((Ascii (true, false, true, false,
-    false, true, true, false)), (String ((Ascii (false, true, true, false,
-    false, false, true, false)), (String ((Ascii (true, false, false, true,
-    false, true, true, false)), (String ((Ascii (true, false, true, false,
-    false, true, true, false)), (String ((Ascii (false, false, true, true,
-    false, true, true, false)), (String ((Ascii (false, false, true, false,
-    false, true, true, false)),
-    EmptyString)))))))))))))))))))))))))))))))))))))))))))))))))))))))))))))))))))))),
-    (String ((Ascii (false, true, false, false, true, true, false, false)),
-    (String ((Ascii (true, true, true, false, true, true, false, false)),
-    (String ((Ascii (false, true, true, false, false, true, true, false)),
-    (String ((Ascii (true, false, false, false, true, true, false, false)),
-    (String ((Ascii (true, true, true, false, true, true, false, false)),
-    (String ((Ascii (false, true, false, false, false, true, true, false)),
-    (String ((Ascii (false, true, true, false, true, true, false, false)),
-    (String ((Ascii (true, true, true, false, true, true, false, false)),
-    (String ((Ascii (true, true, true, false, true, true, false, false)),
-    (String ((Ascii (false, false, true, false, false, true, true, false)),
-    (String ((Ascii (false, true, false, false, false, true, true, false)),
-    (String ((Ascii (false, false, false, true, true, true, false, false)),
-    EmptyString)))))))))))))))))))))))))) :: ((SAlpha ((String ((Ascii (true,
-    true, false, false, true, false, true, false)), (String ((Ascii (true,
-    false, true, false, false, true, true, false)), (String ((Ascii (false,
-    false, true, false, true, true, true, false)), (String ((Ascii (false,
-    false, true, false, true, true, true, false)), (String ((Ascii (false,
-    false, true, true, false, true, true, false)), (String ((Ascii (true,
-    false, true, false, false, true, true, false)), (String ((Ascii (true,
-    false, true, true, false, true, true, false)), (String ((Ascii (true,
-    false, true, false, false, true, true, false)), (String ((Ascii (false,
-    true, true, true, false, true, true, false)), (String ((Ascii (false,
-    false, true, false, true, true, true, false)), (String ((Ascii (false,
-    false, true, false, false, false, true, false)), (String ((Ascii (true,
-    false, false, false, false, true, true, false)), (String ((Ascii (false,
-    false, true, false, true, true, true, false)), (String ((Ascii (true,
-    false, true, false, false, true, true, false)),
-    EmptyString)))))))))))))))))))))))))))), (S (S (S O))))) :: ((SItoa
-    (String ((Ascii (true, true, true, true, false, false, true, false)),
-    (String ((Ascii (false, true, false, false, true, true, true, false)),
-    (String ((Ascii (true, false, false, true, false, true, true, false)),
-    (String ((Ascii (true, true, true, false, false, true, true, false)),
-    (String ((Ascii (true, false, false, true, false, true, true, false)),
-    (String ((Ascii (false, true, true, true, false, true, true, false)),
-    (String ((Ascii (true, false, false, false, false, true, true, false)),
-    (String ((Ascii (false, false, true, false, true, true, true, false)),
-    (String ((Ascii (true, true, true, true, false, true, true, false)),
-    (String ((Ascii (false, true, false, false, true, true, true, false)),
-    (String ((Ascii (true, true, false, false, true, false, true, false)),
-    (String ((Ascii (false, false, true, false, true, true, true, false)),
-    (String ((Ascii (true, false, false, false, false, true, true, false)),
-    (String ((Ascii (false, false, true, false, true, true, true, false)),
-    (String ((Ascii (true, false, true, false, true, true, true, false)),
-    (String ((Ascii (true, true, false, false, true, true, true, false)),
-    (String ((Ascii (true, true, false, false, false, false, true, false)),
-    (String ((Ascii (true, true, true, true, false, true, true, false)),
-    (String ((Ascii (false, false, true, false, false, true, true, false)),
-    (String ((Ascii (true, false, true, false, false, true, true, false)),
-    EmptyString))))))))))))))))))))))))))))))))))))))))) :: ((SStr ((String
-    ((Ascii (true, true, true, true, false, false, true, false)), (String
-    ((Ascii (false, false, true, false, false, false, true, false)), (String
-    ((Ascii (false, true, true, false, false, false, true, false)), (String
-    ((Ascii (true, false, false, true, false, false, true, false)), (String
-    ((Ascii (true, false, false, true, false, false, true, false)), (String
-    ((Ascii (false, false, true, false, false, true, true, false)), (String
-    ((Ascii (true, false, true, false, false, true, true, false)), (String
-    ((Ascii (false, true, true, true, false, true, true, false)), (String
-    ((Ascii (false, false, true, false, true, true, true, false)), (String
-    ((Ascii (true, false, false, true, false, true, true, false)), (String
-    ((Ascii (false, true, true, false, false, true, true, false)), (String
-    ((Ascii (true, false, false, true, false, true, true, false)), (String
-    ((Ascii (true, true, false, false, false, true, true, false)), (String
-    ((Ascii (true, false, false, false, false, true, true, false)), (String
-    ((Ascii (false, false, true, false, true, true, true, false)), (String
-    ((Ascii (true, false, false, true, false, true, true, false)), (String
-    ((Ascii (true, true, true, true, false, true, true, false)), (String
-    ((Ascii (false, true, true, true, false, true, true, false)),
-    EmptyString)))))))))))))))))))))))))))))))))))), (S (S (S (S (S (S (S (S
-    O)))))))))) :: ((SNum ((String ((Ascii (false, true, false, false, false,
-    false, true, false)), (String ((Ascii (true, false, false, false, false,
-    true, true, false)), (String ((Ascii (false, false, true, false, true,
-    true, true, false)), (String ((Ascii (true, true, false, false, false,
-    true, true, false)), (String ((Ascii (false, false, false, true, false,
-    true, true, false)), (String ((Ascii (false, true, true, true, false,
-    false, true, false)), (String ((Ascii (true, false, true, false, true,
-    true, true, false)), (String ((Ascii (true, false, true, true, false,
-    true, true, false)), (String ((Ascii (false, true, false, false, false,
-    true, true, false)), (String ((Ascii (true, false, true, false, false,
-    true, true, false)), (String ((Ascii (false, true, false, false, true,
-    true, true, false)), EmptyString)))))))))))))))))))))), (S (S (S (S (S (S
-    (S O))))))))) :: []))))))))))))); l_cuts =
-    ((mkcut O (S O) EmptyString []) :: ((mkcut (S O) (S (S (S (S O))))
-                                          (String ((Ascii (true, true, false,
-                                          false, true, false, true, false)),
-                                          (String ((Ascii (true, false, true,
-                                          false, false, true, true, false)),
-                                          (String ((Ascii (false, true,
-                                          false, false, true, true, true,
-                                          false)), (String ((Ascii (false,
-                                          true, true, false, true, true,
-                                          true, false)), (String ((Ascii
-                                          (true, false, false, true, false,
-                                          true, true, false)), (String
-                                          ((Ascii (true, true, false, false,
-                                          false, true, true, false)), (String
-                                          ((Ascii (true, false, true, false,
-                                          false, true, true, false)), (String
-                                          ((Ascii (true, true, false, false,
-                                          false, false, true, false)),
-                                          (String ((Ascii (false, false,
-                                          true, true, false, true, true,
-                                          false)), (String ((Ascii (true,
-                                          false, false, false, false, true,
-                                          true, false)), (String ((Ascii
-                                          (true, true, false, false, true,
-                                          true, true, false)), (String
-                                          ((Ascii (true, true, false, false,
-                                          true, true, true, false)), (String
-                                          ((Ascii (true, true, false, false,
-                                          false, false, true, false)),
-                                          (String ((Ascii (true, true, true,
-                                          true, false, true, true, false)),
-                                          (String ((Ascii (false, false,
-                                          true, false, false, true, true,
-                                          false)), (String ((Ascii (true,
-                                          false, true, false, false, true,
-                                          true, false)),
-                                          EmptyString))))))))))))))))))))))))))))))))
-                                          ((String ((Ascii (false, false,
-                                          false, false, true, true, true,
-                                          false)), (String ((Ascii (true,
-                                          false, false, false, false, true,
-                                          true, false)), (String ((Ascii
-                                          (false, true, false, false, true,
-                                          true, true, false)), (String
-                                          ((Ascii (true, true, false, false,
-                                          true, true, true, false)), (String
-                                          ((Ascii (true, false, true, false,
-                                          false, true, true, false)), (String
-                                          ((Ascii (false, true, true, true,
-                                          false, false, true, false)),
-                                          (String ((Ascii (true, false, true,
-                                          false, true, true, true, false)),
-                                          (String ((Ascii (true, false, true,
-                                          true, false, true, true, false)),
-                                          (String ((Ascii (false, true, true,
-                                          false, false, false, true, false)),
-                                          (String ((Ascii (true, false,
-                                          false, true, false, true, true,
-                                          false)), (String ((Ascii (true,
-                                          false, true, false, false, true,
-                                          true, false)), (String ((Ascii
-                                          (false, false, true, true, false,
-                                          true, true, false)), (String
-                                          ((Ascii (false, false, true, false,
-                                          false, true, true, false)),
-                                          EmptyString)))))))))))))))))))))))))) :: [])) :: (
-    (mkcut (S (S (S (S O)))) (S (S (S (S (S (S (S (S (S (S (S (S (S (S (S (S
-      (S (S (S (S O)))))))))))))))))))) (String ((Ascii (true, true, false,
-      false, false, false, true, false)), (String ((Ascii (true, true, true,
-      true, false, true, true, false)), (String ((Ascii (true, false, true,
-      true, false, true, true, false)), (String ((Ascii (false, false, false,
-      false, true, true, true, false)), (String ((Ascii (true, false, false,
-      false, false, true, true, false)), (String ((Ascii (false, true, true,
-      true, false, true, true, false)), (String ((Ascii (true, false, false,
-      true, true, true, true, false)), (String ((Ascii (false, true, true,
-      true, false, false, true, false)), (String ((Ascii (true, false, false,
-      false, false, true, true, false)), (String ((Ascii (true, false, true,
-      true, false, true, true, false)), (String ((Ascii (true, false, true,
-      false, false, true, true, false)), EmptyString))))))))))))))))))))))
-      ((String ((Ascii (false, false, false, false, true, true, true,
-      false)), (String ((Ascii (true, false, false, false, false, true, true,
-      false)), (String ((Ascii (false, true, false, false, true, true, true,
-      false)), (String ((Ascii (true, true, false, false, true, true, true,
-      false)), (String ((Ascii (true, false, true, false, false, true, true,
-      false)), (String ((Ascii (true, true, false, false, true, false, true,
-      false)), (String ((Ascii (false, false, true, false, true, true, true,
-      false)), (String ((Ascii (false, true, false, false, true, true, true,
-      false)), (String ((Ascii (true, false, false, true, false, true, true,
-      false)), (String ((Ascii (false, true, true, true, false, true, true,
-      false)), (String ((Ascii (true, true, true, false, false, true, true,
-      false)), (String ((Ascii (false, true, true, false, false, false, true,
-      false)), (String ((Ascii (true, false, false, true, false, true, true,
-      false)), (String ((Ascii (true, false, true, false, false, true, true,
-      false)), (String ((Ascii (false, false, true, true, false, true, true,
-      false)), (String ((Ascii (false, false, true, false, false, true, true,
-      false)), (String ((Ascii (true, true, true, false, true, false, true,
-      false)), (String ((Ascii (true, false, false, true, false, true, true,
-      false)), (String ((Ascii (false, false, true, false, true, true, true,
-      false)), (String ((Ascii (false, false, false, true, false, true, true,
-      false)), (String ((Ascii (true, true, true, true, false, false, true,
-      false)), (String ((Ascii (false, false, false, false, true, true, true,
-      false)), (String ((Ascii (false, false, true, false, true, true, true,
-      false)), (String ((Ascii (true, true, false, false, true, true, true,
-      false)),
-      EmptyString)))))))))))))))))))))))))))))))))))))))))))))))) :: [])) :: (
-    (mkcut (S (S (S (S (S (S (S (S (S (S (S (S (S (S (S (S (S (S (S (S
-      O)))))))))))))))))))) (S (S (S (S (S (S (S (S (S (S (S (S (S (S (S (S
-      (S (S (S (S (S (S (S (S (S (S (S (S (S (S (S (S (S (S (S (S (S (S (S (S
-      O)))))))))))))))))))))))))))))))))))))))) (String ((Ascii (true, true,
-      false, false, false, false, true, false)), (String ((Ascii (true, true,
-      true, true, false, true, true, false)), (String ((Ascii (true, false,
-      true, true, false, true, true, false)), (String ((Ascii (false, false,
-      false, false, true, true, true, false)), (String ((Ascii (true, false,
-      false, false, false, true, true, false)), (String ((Ascii (false, true,
-      true, true, false, true, true, false)), (String ((Ascii (true, false,
-      false, true, true, true, true, false)), (String ((Ascii (false, false,
-      true, false, false, false, true, false)), (String ((Ascii (true, false,
-      false, true, false, true, true, false)), (String ((Ascii (true, true,
-      false, false, true, true, true, false)), (String ((Ascii (true, true,
-      false, false, false, true, true, false)), (String ((Ascii (false, true,
-      false, false, true, true, true, false)), (String ((Ascii (true, false,
-      true, false, false, true, true, false)), (String ((Ascii (false, false,
-      true, false, true, true, true, false)), (String ((Ascii (true, false,
-      false, true, false, true, true, false)), (String ((Ascii (true, true,
-      true, true, false, true, true, false)), (String ((Ascii (false, true,
-      true, true, false, true, true, false)), (String ((Ascii (true, false,
-      false, false, false, true, true, false)), (String ((Ascii (false, true,
-      false, false, true, true, true, false)), (String ((Ascii (true, false,
-      false, true, true, true, true, false)), (String ((Ascii (false, false,
-      true, false, false, false, true, false)), (String ((Ascii (true, false,
-      false, false, false, true, true, false)), (String ((Ascii (false,
-      false, true, false, true, true, true, false)), (String ((Ascii (true,
-      false, false, false, false, true, true, false)),
-      EmptyString)))))))))))))))))))))))))))))))))))))))))))))))) ((String
-      ((Ascii (false, false, false, false, true, true, true, false)), (String
-      ((Ascii (true, false, false, false, false, true, true, false)), (String
-      ((Ascii (false, true, false, false, true, true, true, false)), (String
-      ((Ascii (true, true, false, false, true, true, true, false)), (String
-      ((Ascii (true, false, true, false, false, true, true, false)), (String
-      ((Ascii (true, true, false, false, true, false, true, false)), (String
-      ((Ascii (false, false, true, false, true, true, true, false)), (String
-      ((Ascii (false, true, false, false, true, true, true, false)), (String
-      ((Ascii (true, false, false, true, false, true, true, false)), (String
-      ((Ascii (false, true, true, true, false, true, true, false)), (String
-      ((Ascii (true, true, true, false, false, true, true, false)), (String
-      ((Ascii (false, true, true, false, false, false, true, false)), (String
-      ((Ascii (true, false, false, true, false, true, true, false)), (String
-      ((Ascii (true, false, true, false, false, true, true, false)), (String
-      ((Ascii (false, false, true, true, false, true, true, false)), (String
-      ((Ascii (false, false, true, false, false, true, true, false)), (String
-      ((Ascii (true, true, true, false, true, false, true, false)), (String
-      ((Ascii (true, false, false, true, false, true, true, false)), (String
-      ((Ascii (false, false, true, false, true, true, true, false)), (String
-      ((Ascii (false, false, false, true, false, true, true, false)), (String
-      ((Ascii (true, true, true, true, false, false, true, false)), (String
-      ((Ascii (false, false, false, false, true, true, true, false)), (String
-      ((Ascii (false, false, true, false, true, true, true, false)), (String
-      ((Ascii (true, true, false, false, true, true, true, false)),
-      EmptyString)))))))))))))))))))))))))))))))))))))))))))))))) :: [])) :: (
-    (mkcut (S (S (S (S (S (S (S (S (S (S (S (S (S (S (S (S (S (S (S (S (S (S
-      (S (S (S (S (S (S (S (S (S (S (S (S (S (S (S (S (S (S
-      O)))))))))))))))))))))))))))))))))))))))) (S (S (S (S (S (S (S (S (S (S
-      (S (S (S (S (S (S (S (S (S (S (S (S (S (S (S (S (S (S (S (S (S (S (S (S
-      (S (S (S (S (S (S (S (S (S (S (S (S (S (S (S (S
-      O)))))))))))))))))))))))))))))))))))))))))))))))))) (String ((Ascii
-      (true, true, false, false, false, false, true, false)), (String ((Ascii
-      (true, true, true, true, false, true, true, false)), (String ((Ascii
-      (true, false, true, true, false, true, true, false)), (String ((Ascii
-      (false, false, false, false, true, true, true, false)), (String ((Ascii
-      (true, false, false, false, false, true, true, false)), (String ((Ascii
-      (false, true, true, true, false, true, true, false)), (String ((Ascii
-      (true, false, false, true, true, true, true, false)), (String ((Ascii
-      (true, false, false, true, false, false, true, false)), (String ((Ascii
-      (false, false, true, false, false, true, true, false)), (String ((Ascii
-      (true, false, true, false, false, true, true, false)), (String ((Ascii
-      (false, true, true, true, false, true, true, false)), (String ((Ascii
-      (false, false, true, false, true, true, true, false)), (String ((Ascii
-      (true, false, false, true, false, true, true, false)), (String ((Ascii
-      (false, true, true, false, false, true, true, false)), (String ((Ascii
-      (true, false, false, true, false, true, true, false)), (String ((Ascii
-      (true, true, false, false, false, true, true, false)), (String ((Ascii
-      (true, false, false, false, false, true, true, false)), (String ((Ascii
-      (false, false, true, false, true, true, true, false)), (String ((Ascii
-      (true, false, false, true, false, true, true, false)), (String ((Ascii
-      (true, true, true, true, false, true, true, false)), (String ((Ascii
-      (false, true, true, true, false, true, true, false)),
-      EmptyString)))))))))))))))))))))))))))))))))))))))))) ((String ((Ascii
-      (false, false, false, false, true, true, true, false)), (String ((Ascii
-      (true, false, false, false, false, true, true, false)), (String ((Ascii
-      (false, true, false, false, true, true, true, false)), (String ((Ascii
-      (true, true, false, false, true, true, true, false)), (String ((Ascii
-      (true, false, true, false, false, true, true, false)), (String ((Ascii
-      (true, true, false, false, true, false, true, false)), (String ((Ascii
-      (false, false, true, false, true, true, true, false)), (String ((Ascii
-      (false, true, false, false, true, true, true, false)), (String ((Ascii
-      (true, false, false, true, false, true, true, false)), (String ((Ascii
-      (false, true, true, true, false, true, true, false)), (String ((Ascii
-      (true, true, true, false, false, true, true, false)), (String ((Ascii
-      (false, true, true, false, false, false, true, false)), (String ((Ascii
-      (true, false, false, true, false, true, true, false)), (String ((Ascii
-      (true, false, true, false, false, true, true, false)), (String ((Ascii
-      (false, false, true, true, false, true, true, false)), (String ((Ascii
-      (false, false, true, false, false, true, true, false)), (String ((Ascii
-      (true, true, true, false, true, false, true, false)), (String ((Ascii
-      (true, false, false, true, false, true, true, false)), (String ((Ascii
-      (false, false, true, false, true, true, true, false)), (String ((Ascii
-      (false, false, false, true, false, true, true, false)), (String ((Ascii
-      (true, true, true, true, false, false, true, false)), (String ((Ascii
-      (false, false, false, false, true, true, true, false)), (String ((Ascii
-      (false, false, true, false, true, true, true, false)), (String ((Ascii
-      (true, true, false, false, true, true, true, false)),
-      EmptyString)))))))))))))))))))))))))))))))))))))))))))))))) :: [])) :: (
-    (mkcut (S (S (S (S (S (S (S (S (S (S (S (S (S (S (S (S (S (S (S (S (S (S
-      (S (S (S (S (S (S (S (S (S (S (S (S (S (S (S (S (S (S (S (S (S (S (S (S
-      (S (S (S (S O)))))))))))))))))))))))))))))))))))))))))))))))))) (S (S
-      (S (S (S (S (S (S (S (S (S (S (S (S (S (S (S (S (S (S (S (S (S (S (S (S
-      (S (S (S (S (S (S (S (S (S (S (S (S (S (S (S (S (S (S (S (S (S (S (S (S
-      (S (S (S O))))))))))))))))))))))))))))))))))))))))))))))))))))) (String
-      ((Ascii (true, true, false, false, true, false, true, false)), (String
-      ((Ascii (false, false, true, false, true, true, true, false)), (String
-      ((Ascii (true, false, false, false, false, true, true, false)), (String
-      ((Ascii (false, true, true, true, false, true, true, false)), (String
-      ((Ascii (false, false, true, false, false, true, true, false)), (String
-      ((Ascii (true, false, false, false, false, true, true, false)), (String
-      ((Ascii (false, true, false, false, true, true, true, false)), (String
-      ((Ascii (false, false, true, false, false, true, true, false)), (String
-      ((Ascii (true, false, true, false, false, false, true, false)), (String
-      ((Ascii (false, true, true, true, false, true, true, false)), (String
-      ((Ascii (false, false, true, false, true, true, true, false)), (String
-      ((Ascii (false, true, false, false, true, true, true, false)), (String
-      ((Ascii (true, false, false, true, true, true, true, false)), (String
-      ((Ascii (true, true, false, false, false, false, true, false)), (String
-      ((Ascii (false, false, true, true, false, true, true, false)), (String
-      ((Ascii (true, false, false, false, false, true, true, false)), (String
-      ((Ascii (true, true, false, false, true, true, true, false)), (String
-      ((Ascii (true, true, false, false, true, true, true, false)), (String
-      ((Ascii (true, true, false, false, false, false, true, false)), (String
-      ((Ascii (true, true, true, true, false, true, true, false)), (String
-      ((Ascii (false, false, true, false, false, true, true, false)), (String
-      ((Ascii (true, false, true, false, false, true, true, false)),
-      EmptyString)))))))))))))))))))))))))))))))))))))))))))) []) :: (
-    (mkcut (S (S (S (S (S (S (S (S (S (S (S (S (S (S (S (S (S (S (S (S (S (S
-      (S (S (S (S (S (S (S (S (S (S (S (S (S (S (S (S (S (S (S (S (S (S (S (S
-      (S (S (S (S (S (S (S
-      O))))))))))))))))))))))))))))))))))))))))))))))))))))) (S (S (S (S (S
-      (S (S (S (S (S (S (S (S (S (S (S (S (S (S (S (S (S (S (S (S (S (S (S (S
-      (S (S (S (S (S (S (S (S (S (S (S (S (S (S (S (S (S (S (S (S (S (S (S (S
-      (S (S (S (S (S (S (S (S (S (S
-      O)))))))))))))))))))))))))))))))))))))))))))))))))))))))))))))))
-      (String ((Ascii (true, true, false, false, false, false, true, false)),
-      (String ((Ascii (true, true, true, true, false, true, true, false)),
-      (String ((Ascii (true, false, true, true, false, true, true, false)),
-      (String ((Ascii (false, false, false, false, true, true, true, false)),
-      (String ((Ascii (true, false, false, false, false, true, true, false)),
-      (String ((Ascii (false, true, true, true, false, true, true, false)),
-      (String ((Ascii (true, false, false, true, true, true, true, false)),
-      (String ((Ascii (true, false, true, false, false, false, true, false)),
-      (String ((Ascii (false, true, true, true, false, true, true, false)),
-      (String ((Ascii (false, false, true, false, true, true, true, false)),
-      (String ((Ascii (false, true, false, false, true, true, true, false)),
-      (String ((Ascii (true, false, false, true, true, true, true, false)),
-      (String ((Ascii (false, false, true, false, false, false, true,
-      false)), (String ((Ascii (true, false, true, false, false, true, true,
-      false)), (String ((Ascii (true, true, false, false, true, true, true,
-      false)), (String ((Ascii (true, true, false, false, false, true, true,
-      false)), (String ((Ascii (false, true, false, false, true, true, true,
-      false)), (String ((Ascii (true, false, false, true, false, true, true,
-      false)), (String ((Ascii (false, false, false, false, true, true, true,
-      false)), (String ((Ascii (false, false, true, false, true, true, true,
-      false)), (String ((Ascii (true, false, false, true, false, true, true,
-      false)), (String ((Ascii (true, true, true, true, false, true, true,
-      false)), (String ((Ascii (false, true, true, true, false, true, true,
-      false)), EmptyString))))))))))))))))))))))))))))))))))))))))))))))
-      ((String ((Ascii (false, false, false, false, true, true, true,
-      false)), (String ((Ascii (true, false, false, false, false, true, true,
-      false)), (String ((Ascii (false, true, false, false, true, true, true,
-      false)), (String ((Ascii (true, true, false, false, true, true, true,
-      false)), (String ((Ascii (true, false, true, false, false, true, true,
-      false)), (String ((Ascii (true, true, false, false, true, false, true,
-      false)), (String ((Ascii (false, false, true, false, true, true, true,
-      false)), (String ((Ascii (false, true, false, false, true, true, true,
-      false)), (String ((Ascii (true, false, false, true, false, true, true,
-      false)), (String ((Ascii (false, true, true, true, false, true, true,
-      false)), (String ((Ascii (true, true, true, false, false, true, true,
-      false)), (String ((Ascii (false, true, true, false, false, false, true,
-      false)), (String ((Ascii (true, false, false, true, false, true, true,
-      false)), (String ((Ascii (true, false, true, false, false, true, true,
-      false)), (String ((Ascii (false, false, true, true, false, true, true,
-      false)), (String ((Ascii (false, false, true, false, false, true, true,
-      false)), (String ((Ascii (true, true, true, false, true, false, true,
-      false)), (String ((Ascii (true, false, false, true, false, true, true,
-      false)), (String ((Ascii (false, false, true, false, true, true, true,
-      false)), (String ((Ascii (false, false, false, true, false, true, true,
-      false)), (String ((Ascii (true, true, true, true, false, false, true,
-      false)), (String ((Ascii (false, false, false, false, true, true, true,
-      false)), (String ((Ascii (false, false, true, false, true, true, true,
-      false)), (String ((Ascii (true, true, false, false, true, true, true,
-      false)),
-      EmptyString)))))))))))))))))))))))))))))))))))))))))))))))) :: [])) :: (
-    (mkcut (S (S (S (S (S (S (S (S (S (S (S (S (S (S (S (S (S (S (S (S (S (S
-      (S (S (S (S (S (S (S (S (S (S (S (S (S (S (S (S (S (S (S (S (S (S (S (S
-      (S (S (S (S (S (S (S (S (S (S (S (S (S (S (S (S (S
-      O))))))))))))))))))))))))))))))))))))))))))))))))))))))))))))))) (S (S
-      (S (S (S (S (S (S (S (S (S (S (S (S (S (S (S (S (S (S (S (S (S (S (S (S
-      (S (S (S (S (S (S (S (S (S (S (S (S (S (S (S (S (S (S (S (S (S (S (S (S
-      (S (S (S (S (S (S (S (S (S (S (S (S (S (S (S (S (S (S (S
-      O)))))))))))))))))))))))))))))))))))))))))))))))))))))))))))))))))))))
-      (String ((Ascii (true, true, false, false, false, false, true, false)),
-      (String ((Ascii (true, true, true, true, false, true, true, false)),
-      (String ((Ascii (true, false, true, true, false, true, true, false)),
-      (String ((Ascii (false, false, false, false, true, true, true, false)),
-      (String ((Ascii (true, false, false, false, false, true, true, false)),
-      (String ((Ascii (false, true, true, true, false, true, true, false)),
-      (String ((Ascii (true, false, false, true, true, true, true, false)),
-      (String ((Ascii (false, false, true, false, false, false, true,
-      false)), (String ((Ascii (true, false, true, false, false, true, true,
-      false)), (String ((Ascii (true, true, false, false, true, true, true,
-      false)), (String ((Ascii (true, true, false, false, false, true, true,
-      false)), (String ((Ascii (false, true, false, false, true, true, true,
-      false)), (String ((Ascii (true, false, false, true, false, true, true,
-      false)), (String ((Ascii (false, false, false, false, true, true, true,
-      false)), (String ((Ascii (false, false, true, false, true, true, true,
-      false)), (String ((Ascii (true, false, false, true, false, true, true,
-      false)), (String ((Ascii (false, true, true, false, true, true, true,
-      false)), (String ((Ascii (true, false, true, false, false, true, true,
-      false)), (String ((Ascii (false, false, true, false, false, false,
-      true, false)), (String ((Ascii (true, false, false, false, false, true,
-      true, false)), (String ((Ascii (false, false, true, false, true, true,
-      true, false)), (String ((Ascii (true, false, true, false, false, true,
-      true, false)), EmptyString))))))))))))))))))))))))))))))))))))))))))))
-      ((String ((Ascii (false, false, false, false, true, true, true,
-      false)), (String ((Ascii (true, false, false, false, false, true, true,
-      false)), (String ((Ascii (false, true, false, false, true, true, true,
-      false)), (String ((Ascii (true, true, false, false, true, true, true,
-      false)), (String ((Ascii (true, false, true, false, false, true, true,
-      false)), (String ((Ascii (true, true, false, false, true, false, true,
-      false)), (String ((Ascii (false, false, true, false, true, true, true,
-      false)), (String ((Ascii (false, true, false, false, true, true, true,
-      false)), (String ((Ascii (true, false, false, true, false, true, true,
-      false)), (String ((Ascii (false, true, true, true, false, true, true,
-      false)), (String ((Ascii (true, true, true, false, false, true, true,
-      false)), (String ((Ascii (false, true, true, false, false, false, true,
-      false)), (String ((Ascii (true, false, false, true, false, true, true,
-      false)), (String ((Ascii (true, false, true, false, false, true, true,
-      false)), (String ((Ascii (false, false, true, true, false, true, true,
-      false)), (String ((Ascii (false, false, true, false, false, true, true,
-      false)), (String ((Ascii (true, true, true, false, true, false, true,
-      false)), (String ((Ascii (true, false, false, true, false, true, true,
-      false)), (String ((Ascii (false, false, true, false, true, true, true,
-      false)), (String ((Ascii (false, false, false, true, false, true, true,
-      false)), (String ((Ascii (true, true, true, true, false, false, true,
-      false)), (String ((Ascii (false, false, false, false, true, true, true,
-      false)), (String ((Ascii (false, false, true, false, true, true, true,
-      false)), (String ((Ascii (true, true, false, false, true, true, true,
-      false)),
-      EmptyString)))))))))))))))))))))))))))))))))))))))))))))))) :: [])) :: (
-    (mkcut (S (S (S (S (S (S (S (S (S (S (S (S (S (S (S (S (S (S (S (S (S (S
-      (S (S (S (S (S (S (S (S (S (S (S (S (S (S (S (S (S (S (S (S (S (S (S (S
-      (S (S (S (S (S (S (S (S (S (S (S (S (S (S (S (S (S (S (S (S (S (S (S
-      O)))))))))))))))))))))))))))))))))))))))))))))))))))))))))))))))))))))
-      (S (S (S (S (S (S (S (S (S (S (S (S (S (S (S (S (S (S (S (S (S (S (S (S
-      (S (S (S (S (S (S (S (S (S (S (S (S (S (S (S (S (S (S (S (S (S (S (S (S
-      (S (S (S (S (S (S (S (S (S (S (S (S (S (S (S (S (S (S (S (S (S (S (S (S
-      (S (S (S
-      O)))))))))))))))))))))))))))))))))))))))))))))))))))))))))))))))))))))))))))
-      (String ((Ascii (true, false, true, false, false, false, true, false)),
-      (String ((Ascii (false, true, true, false, false, true, true, false)),
-      (String ((Ascii (false, true, true, false, false, true, true, false)),
-      (String ((Ascii (true, false, true, false, false, true, true, false)),
-      (String ((Ascii (true, true, false, false, false, true, true, false)),
-      (String ((Ascii (false, false, true, false, true, true, true, false)),
-      (String ((Ascii (true, false, false, true, false, true, true, false)),
-      (String ((Ascii (false, true, true, false, true, true, true, false)),
-      (String ((Ascii (true, false, true, false, false, true, true, false)),
-      (String ((Ascii (true, false, true, false, false, false, true, false)),
-      (String ((Ascii (false, true, true, true, false, true, true, false)),
-      (String ((Ascii (false, false, true, false, true, true, true, false)),
-      (String ((Ascii (false, true, false, false, true, true, true, false)),
-      (String ((Ascii (true, false, false, true, true, true, true, false)),
-      (String ((Ascii (false, false, true, false, false, false, true,
-      false)), (String ((Ascii (true, false, false, false, false, true, true,
-      false)), (String ((Ascii (false, false, true, false, true, true, true,
-      false)), (String ((Ascii (true, false, true, false, false, true, true,
-      false)), EmptyString)))))))))))))))))))))))))))))))))))) ((String
-      ((Ascii (false, true, true, false, true, true, true, false)), (String
-      ((Ascii (true, false, false, false, false, true, true, false)), (String
-      ((Ascii (false, false, true, true, false, true, true, false)), (String
-      ((Ascii (true, false, false, true, false, true, true, false)), (String
-      ((Ascii (false, false, true, false, false, true, true, false)), (String
-      ((Ascii (true, false, false, false, false, true, true, false)), (String
-      ((Ascii (false, false, true, false, true, true, true, false)), (String
-      ((Ascii (true, false, true, false, false, true, true, false)), (String
-      ((Ascii (true, true, false, false, true, false, true, false)), (String
-      ((Ascii (true, false, false, true, false, true, true, false)), (String
-      ((Ascii (true, false, true, true, false, true, true, false)), (String
-      ((Ascii (false, false, false, false, true, true, true, false)), (String
-      ((Ascii (false, false, true, true, false, true, true, false)), (String
-      ((Ascii (true, false, true, false, false, true, true, false)), (String
-      ((Ascii (false, false, true, false, false, false, true, false)),
-      (String ((Ascii (true, false, false, false, false, true, true, false)),
-      (String ((Ascii (false, false, true, false, true, true, true, false)),
-      (String ((Ascii (true, false, true, false, false, true, true, false)),
-      EmptyString)))))))))))))))))))))))))))))))))))) :: [])) :: ((mkcut (S
-                                                                    (S (S (S
-                                                                    (S (S (S
-                                                                    (S (S (S
-                                                                    (S (S (S
-                                                                    (S (S (S
-                                                                    (S (S (S
-                                                                    (S (S (S
-                                                                    (S (S (S
-                                                                    (S (S (S
-                                                                    (S (S (S
-                                                                    (S (S (S
-                                                                    (S (S (S
-                                                                    (S (S (S
-                                                                    (S (S (S
-                                                                    (S (S (S
-                                                                    (S (S (S
-                                                                    (S (S (S
-                                                                    (S (S (S
-                                                                    (S (S (S
-                                                                    (S (S (S
-                                                                    (S (S (S
-                                                                    (S (S (S
-                                                                    (S (S (S
-                                                                    (S (S (S
-                                                                    (S (S
-                                                                    O)))))))))))))))))))))))))))))))))))))))))))))))))))))))))))))))))))))))))))
-                                                                    (S (S (S
-                                                                    (S (S (S
-                                                                    (S (S (S
-                                                                    (S (S (S
-                                                                    (S (S (S
-                                                                    (S (S (S
-                                                                    (S (S (S
-                                                                    (S (S (S
-                                                                    (S (S (S
-                                                                    (S (S (S
-                                                                    (S (S (S
-                                                                    (S (S (S
-                                                                    (S (S (S
-                                                                    (S (S (S
-                                                                    (S (S (S
-                                                                    (S (S (S
-                                                                    (S (S (S
-                                                                    (S (S (S
-                                                                    (S (S (S
-                                                                    (S (S (S
-                                                                    (S (S (S
-                                                                    (S (S (S
-                                                                    (S (S (S
-                                                                    (S (S (S
-                                                                    (S (S (S
-                                                                    (S (S (S
-                                                                    O))))))))))))))))))))))))))))))))))))))))))))))))))))))))))))))))))))))))))))))
-                                                                    (String
-                                                                    ((Ascii
-                                                                    (true,
-                                                                    true,
-                                                                    false,
-                                                                    false,
-                                                                    true,
-                                                                    false,
-                                                                    true,
-                                                                    false)),
-                                                                    (String
-                                                                    ((Ascii
-                                                                    (true,
-                                                                    false,
-                                                                    true,
-                                                                    false,
-                                                                    false,
-                                                                    true,
-                                                                    true,
-                                                                    false)),
-                                                                    (String
-                                                                    ((Ascii
-                                                                    (false,
-                                                                    false,
-                                                                    true,
-                                                                    false,
-                                                                    true,
-                                                                    true,
-                                                                    true,
-                                                                    false)),
-                                                                    (String
-                                                                    ((Ascii
-                                                                    (false,
-                                                                    false,
-                                                                    true,
-                                                                    false,
-                                                                    true,
-                                                                    true,
-                                                                    true,
-                                                                    false)),
-                                                                    (String
-                                                                    ((Ascii
-                                                                    (false,
-                                                                    false,
-                                                                    true,
-                                                                    true,
-                                                                    false,
-                                                                    true,
-                                                                    true,
-                                                                    false)),
-                                                                    (String
-                                                                    ((Ascii
-                                                                    (true,
-                                                                    false,
-                                                                    true,
-                                                                    false,
-                                                                    false,
-                                                                    true,
-                                                                    true,
-                                                                    false)),
-                                                                    (String
-                                                                    ((Ascii
-                                                                    (true,
-                                                                    false,
-                                                                    true,
-                                                                    true,
-                                                                    false,
-                                                                    true,
-                                                                    true,
-                                                                    false)),
-                                                                    (String
-                                                                    ((Ascii
-                                                                    (true,
-                                                                    false,
-                                                                    true,
-                                                                    false,
-                                                                    false,
-                                                                    true,
-                                                                    true,
-                                                                    false)),
-                                                                    (String
-                                                                    ((Ascii
-                                                                    (false,
-                                                                    true,
-                                                                    true,
-                                                                    true,
-                                                                    false,
-                                                                    true,
-                                                                    true,
-                                                                    false)),
-                                                                    (String
-                                                                    ((Ascii
-                                                                    (false,
-                                                                    false,
-                                                                    true,
-                                                                    false,
-                                                                    true,
-                                                                    true,
-                                                                    true,
-                                                                    false)),
-                                                                    (String
-                                                                    ((Ascii
-                                                                    (false,
-                                                                    false,
-                                                                    true,
-                                                                    false,
-                                                                    false,
-                                                                    false,
-                                                                    true,
-                                                                    false)),
-                                                                    (String
-                                                                    ((Ascii
-                                                                    (true,
-                                                                    false,
-                                                                    false,
-                                                                    false,
-                                                                    false,
-                                                                    true,
-                                                                    true,
-                                                                    false)),
-                                                                    (String
-                                                                    ((Ascii
-                                                                    (false,
-                                                                    false,
-                                                                    true,
-                                                                    false,
-                                                                    true,
-                                                                    true,
-                                                                    true,
-                                                                    false)),
-                                                                    (String
-                                                                    ((Ascii
-                                                                    (true,
-                                                                    false,
-                                                                    true,
-                                                                    false,
-                                                                    false,
-                                                                    true,
-                                                                    true,
-                                                                    false)),
-                                                                    EmptyString))))))))))))))))))))))))))))
-                                                                    ((String
-                                                                    ((Ascii
-                                                                    (false,
-                                                                    true,
-                                                                    true,
-                                                                    false,
-                                                                    true,
-                                                                    true,
-                                                                    true,
-                                                                    false)),
-                                                                    (String
-                                                                    ((Ascii
-                                                                    (true,
-                                                                    false,
-                                                                    false,
-                                                                    false,
-                                                                    false,
-                                                                    true,
-                                                                    true,
-                                                                    false)),
-                                                                    (String
-                                                                    ((Ascii
-                                                                    (false,
-                                                                    false,
-                                                                    true,
-                                                                    true,
-                                                                    false,
-                                                                    true,
-                                                                    true,
-                                                                    false)),
-                                                                    (String
-                                                                    ((Ascii
-                                                                    (true,
-                                                                    false,
-                                                                    false,
-                                                                    true,
-                                                                    false,
-                                                                    true,
-                                                                    true,
-                                                                    false)),
-                                                                    (String
-                                                                    ((Ascii
-                                                                    (false,
-                                                                    false,
-                                                                    true,
-                                                                    false,
-                                                                    false,
-                                                                    true,
-                                                                    true,
-                                                                    false)),
-                                                                    (String
-                                                                    ((Ascii
-                                                                    (true,
-                                                                    false,
-                                                                    false,
-                                                                    false,
-                                                                    false,
-                                                                    true,
-                                                                    true,
-                                                                    false)),
-                                                                    (String
-                                                                    ((Ascii
-                                                                    (false,
-                                                                    false,
-                                                                    true,
-                                                                    false,
-                                                                    true,
-                                                                    true,
-                                                                    true,
-                                                                    false)),
-                                                                    (String
-                                                                    ((Ascii
-                                                                    (true,
-                                                                    false,
-                                                                    true,
-                                                                    false,
-                                                                    false,
-                                                                    true,
-                                                                    true,
-                                                                    false)),
-                                                                    (String
-                                                                    ((Ascii
-                                                                    (true,
-                                                                    true,
-                                                                    false,
-                                                                    false,
-                                                                    true,
-                                                                    false,
-                                                                    true,
-                                                                    false)),
-                                                                    (String
-                                                                    ((Ascii
-                                                                    (true,
-                                                                    false,
-                                                                    true,
-                                                                    false,
-                                                                    false,
-                                                                    true,
-                                                                    true,
-                                                                    false)),
-                                                                    (String
-                                                                    ((Ascii
-                                                                    (false,
-                                                                    false,
-                                                                    true,
-                                                                    false,
-                                                                    true,
-                                                                    true,
-                                                                    true,
-                                                                    false)),
-                                                                    (String
-                                                                    ((Ascii
-                                                                    (false,
-                                                                    false,
-                                                                    true,
-                                                                    false,
-                                                                    true,
-                                                                    true,
-                                                                    true,
-                                                                    false)),
-                                                                    (String
-                                                                    ((Ascii
-                                                                    (false,
-                                                                    false,
-                                                                    true,
-                                                                    true,
-                                                                    false,
-                                                                    true,
-                                                                    true,
-                                                                    false)),
-                                                                    (String
-                                                                    ((Ascii
-                                                                    (true,
-                                                                    false,
-                                                                    true,
-                                                                    false,
-                                                                    false,
-                                                                    true,
-                                                                    true,
-                                                                    false)),
-                                                                    (String
-                                                                    ((Ascii
-                                                                    (true,
-                                                                    false,
-                                                                    true,
-                                                                    true,
-                                                                    false,
-                                                                    true,
-                                                                    true,
-                                                                    false)),
-                                                                    (String
-                                                                    ((Ascii
-                                                                    (true,
-                                                                    false,
-                                                                    true,
-                                                                    false,
-                                                                    false,
-                                                                    true,
-                                                                    true,
-                                                                    false)),
-                                                                    (String
-                                                                    ((Ascii
-                                                                    (false,
-                                                                    true,
-                                                                    true,
-                                                                    true,
-                                                                    false,
-                                                                    true,
-                                                                    true,
-                                                                    false)),
-                                                                    (String
-                                                                    ((Ascii
-                                                                    (false,
-                                                                    false,
-                                                                    true,
-                                                                    false,
-                                                                    true,
-                                                                    true,
-                                                                    true,
-                                                                    false)),
-                                                                    (String
-                                                                    ((Ascii
-                                                                    (false,
-                                                                    false,
-                                                                    true,
-                                                                    false,
-                                                                    false,
-                                                                    false,
-                                                                    true,
-                                                                    false)),
-                                                                    (String
-                                                                    ((Ascii
-                                                                    (true,
-                                                                    false,
-                                                                    false,
-                                                                    false,
-                                                                    false,
-                                                                    true,
-                                                                    true,
-                                                                    false)),
-                                                                    (String
-                                                                    ((Ascii
-                                                                    (false,
-                                                                    false,
-                                                                    true,
-                                                                    false,
-                                                                    true,
-                                                                    true,
-                                                                    true,
-                                                                    false)),
-                                                                    (String
-                                                                    ((Ascii
-                                                                    (true,
-                                                                    false,
-                                                                    true,
-                                                                    false,
-                                                                    false,
-                                                                    true,
-                                                                    true,
-                                                                    false)),
-                                                                    EmptyString)))))))))))))))))))))))))))))))))))))))))))) :: [])) :: (
-    (mkcut (S (S (S (S (S (S (S (S (S (S (S (S (S (S (S (S (S (S (S (S (S (S
-      (S (S (S (S (S (S (S (S (S (S (S (S (S (S (S (S (S (S (S (S (S (S (S (S
-      (S (S (S (S (S (S (S (S (S (S (S (S (S (S (S (S (S (S (S (S (S (S (S (S
-      (S (S (S (S (S (S (S (S
-      O))))))))))))))))))))))))))))))))))))))))))))))))))))))))))))))))))))))))))))))
-      (S (S (S (S (S (S (S (S (S (S (S (S (S (S (S (S (S (S (S (S (S (S (S (S
-      (S (S (S (S (S (S (S (S (S (S (S (S (S (S (S (S (S (S (S (S (S (S (S (S
-      (S (S (S (S (S (S (S (S (S (S (S (S (S (S (S (S (S (S (S (S (S (S (S (S
-      (S (S (S (S (S (S (S
-      O)))))))))))))))))))))))))))))))))))))))))))))))))))))))))))))))))))))))))))))))
-      (String ((Ascii (true, true, true, true, false, false, true, false)),
-      (String ((Ascii (false, true, false, false, true, true, true, false)),
-      (String ((Ascii (true, false, false, true, false, true, true, false)),
-      (String ((Ascii (true, true, true, false, false, true, true, false)),
-      (String ((Ascii (true, false, false, true, false, true, true, false)),
-      (String ((Ascii (false, true, true, true, false, true, true, false)),
-      (String ((Ascii (true, false, false, false, false, true, true, false)),
-      (String ((Ascii (false, false, true, false, true, true, true, false)),
-      (String ((Ascii (true, true, true, true, false, true, true, false)),
-      (String ((Ascii (false, true, false, false, true, true, true, false)),
-      (String ((Ascii (true, true, false, false, true, false, true, false)),
-      (String ((Ascii (false, false, true, false, true, true, true, false)),
-      (String ((Ascii (true, false, false, false, false, true, true, false)),
-      (String ((Ascii (false, false, true, false, true, true, true, false)),
-      (String ((Ascii (true, false, true, false, true, true, true, false)),
-      (String ((Ascii (true, true, false, false, true, true, true, false)),
-      (String ((Ascii (true, true, false, false, false, false, true, false)),
-      (String ((Ascii (true, true, true, true, false, true, true, false)),
-      (String ((Ascii (false, false, true, false, false, true, true, false)),
-      (String ((Ascii (true, false, true, false, false, true, true, false)),
-      EmptyString)))))))))))))))))))))))))))))))))))))))) ((String ((Ascii
-      (false, false, false, false, true, true, true, false)), (String ((Ascii
-      (true, false, false, false, false, true, true, false)), (String ((Ascii
-      (false, true, false, false, true, true, true, false)), (String ((Ascii
-      (true, true, false, false, true, true, true, false)), (String ((Ascii
-      (true, false, true, false, false, true, true, false)), (String ((Ascii
-      (false, true, true, true, false, false, true, false)), (String ((Ascii
-      (true, false, true, false, true, true, true, false)), (String ((Ascii
-      (true, false, true, true, false, true, true, false)), (String ((Ascii
-      (false, true, true, false, false, false, true, false)), (String ((Ascii
-      (true, false, false, true, false, true, true, false)), (String ((Ascii
-      (true, false, true, false, false, true, true, false)), (String ((Ascii
-      (false, false, true, true, false, true, true, false)), (String ((Ascii
-      (false, false, true, false, false, true, true, false)),
-      EmptyString)))))))))))))))))))))))))) :: [])) :: ((mkcut (S (S (S (S (S
-                                                          (S (S (S (S (S (S
-                                                          (S (S (S (S (S (S
-                                                          (S (S (S (S (S (S
-                                                          (S (S (S (S (S (S
-                                                          (S (S (S (S (S (S
-                                                          (S (S (S (S (S (S
-                                                          (S (S (S (S (S (S
-                                                          (S (S (S (S (S (S
-                                                          (S (S (S (S (S (S
-                                                          (S (S (S (S (S (S
-                                                          (S (S (S (S (S (S
-                                                          (S (S (S (S (S (S
-                                                          (S (S
-                                                          O)))))))))))))))))))))))))))))))))))))))))))))))))))))))))))))))))))))))))))))))
-                                                          (S (S (S (S (S (S
-                                                          (S (S (S (S (S (S
-                                                          (S (S (S (S (S (S
-                                                          (S (S (S (S (S (S
-                                                          (S (S (S (S (S (S
-                                                          (S (S (S (S (S (S
-                                                          (S (S (S (S (S (S
-                                                          (S (S (S (S (S (S
-                                                          (S (S (S (S (S (S
-                                                          (S (S (S (S (S (S
-                                                          (S (S (S (S (S (S
-                                                          (S (S (S (S (S (S
-                                                          (S (S (S (S (S (S
-                                                          (S (S (S (S (S (S
-                                                          (S (S (S
-                                                          O)))))))))))))))))))))))))))))))))))))))))))))))))))))))))))))))))))))))))))))))))))))))
-                                                          (String ((Ascii
-                                                          (true, true, true,
-                                                          true, false, false,
-                                                          true, false)),
-                                                          (String ((Ascii
-                                                          (false, false,
-                                                          true, false, false,
-                                                          false, true,
-                                                          false)), (String
-                                                          ((Ascii (false,
-                                                          true, true, false,
-                                                          false, false, true,
-                                                          false)), (String
-                                                          ((Ascii (true,
-                                                          false, false, true,
-                                                          false, false, true,
-                                                          false)), (String
-                                                          ((Ascii (true,
-                                                          false, false, true,
-                                                          false, false, true,
-                                                          false)), (String
-                                                          ((Ascii (false,
-                                                          false, true, false,
-                                                          false, true, true,
-                                                          false)), (String
-                                                          ((Ascii (true,
-                                                          false, true, false,
-                                                          false, true, true,
-                                                          false)), (String
-                                                          ((Ascii (false,
-                                                          true, true, true,
-                                                          false, true, true,
-                                                          false)), (String
-                                                          ((Ascii (false,
-                                                          false, true, false,
-                                                          true, true, true,
-                                                          false)), (String
-                                                          ((Ascii (true,
-                                                          false, false, true,
-                                                          false, true, true,
-                                                          false)), (String
-                                                          ((Ascii (false,
-                                                          true, true, false,
-                                                          false, true, true,
-                                                          false)), (String
-                                                          ((Ascii (true,
-                                                          false, false, true,
-                                                          false, true, true,
-                                                          false)), (String
-                                                          ((Ascii (true,
-                                                          true, false, false,
-                                                          false, true, true,
-                                                          false)), (String
-                                                          ((Ascii (true,
-                                                          false, false,
-                                                          false, false, true,
-                                                          true, false)),
-                                                          (String ((Ascii
-                                                          (false, false,
-                                                          true, false, true,
-                                                          true, true,
-                                                          false)), (String
-                                                          ((Ascii (true,
-                                                          false, false, true,
-                                                          false, true, true,
-                                                          false)), (String
-                                                          ((Ascii (true,
-                                                          true, true, true,
-                                                          false, true, true,
-                                                          false)), (String
-                                                          ((Ascii (false,
-                                                          true, true, true,
-                                                          false, true, true,
-                                                          false)),
-                                                          EmptyString))))))))))))))))))))))))))))))))))))
-                                                          ((String ((Ascii
-                                                          (false, false,
-                                                          false, false, true,
-                                                          true, true,
-                                                          false)), (String
-                                                          ((Ascii (true,
-                                                          false, false,
-                                                          false, false, true,
-                                                          true, false)),
-                                                          (String ((Ascii
-                                                          (false, true,
-                                                          false, false, true,
-                                                          true, true,
-                                                          false)), (String
-                                                          ((Ascii (true,
-                                                          true, false, false,
-                                                          true, true, true,
-                                                          false)), (String
-                                                          ((Ascii (true,
-                                                          false, true, false,
-                                                          false, true, true,
-                                                          false)), (String
-                                                          ((Ascii (true,
-                                                          true, false, false,
-                                                          true, false, true,
-                                                          false)), (String
-                                                          ((Ascii (false,
-                                                          false, true, false,
-                                                          true, true, true,
-                                                          false)), (String
-                                                          ((Ascii (false,
-                                                          true, false, false,
-                                                          true, true, true,
-                                                          false)), (String
-                                                          ((Ascii (true,
-                                                          false, false, true,
-                                                          false, true, true,
-                                                          false)), (String
-                                                          ((Ascii (false,
-                                                          true, true, true,
-                                                          false, true, true,
-                                                          false)), (String
-                                                          ((Ascii (true,
-                                                          true, true, false,
-                                                          false, true, true,
-                                                          false)), (String
-                                                          ((Ascii (false,
-                                                          true, true, false,
-                                                          false, false, true,
-                                                          false)), (String
-                                                          ((Ascii (true,
-                                                          false, false, true,
-                                                          false, true, true,
-                                                          false)), (String
-                                                          ((Ascii (true,
-                                                          false, true, false,
-                                                          false, true, true,
-                                                          false)), (String
-                                                          ((Ascii (false,
-                                                          false, true, true,
-                                                          false, true, true,
-                                                          false)), (String
-                                                          ((Ascii (false,
-                                                          false, true, false,
-                                                          false, true, true,
-                                                          false)), (String
-                                                          ((Ascii (true,
-                                                          true, true, false,
-                                                          true, false, true,
-                                                          false)), (String
-                                                          ((Ascii (true,
-                                                          false, false, true,
-                                                          false, true, true,
-                                                          false)), (String
-                                                          ((Ascii (false,
-                                                          false, true, false,
-                                                          true, true, true,
-                                                          false)), (String
-                                                          ((Ascii (false,
-                                                          false, false, true,
-                                                          false, true, true,
-                                                          false)), (String
-                                                          ((Ascii (true,
-                                                          true, true, true,
-                                                          false, false, true,
-                                                          false)), (String
-                                                          ((Ascii (false,
-                                                          false, false,
-                                                          false, true, true,
-                                                          true, false)),
-                                                          (String ((Ascii
-                                                          (false, false,
-                                                          true, false, true,
-                                                          true, true,
-                                                          false)), (String
-                                                          ((Ascii (true,
-                                                          true, false, false,
-                                                          true, true, true,
-                                                          false)),
-                                                          EmptyString)))))))))))))))))))))))))))))))))))))))))))))))) :: [])) :: (
-    (mkcut (S (S (S (S (S (S (S (S (S (S (S (S (S (S (S (S (S (S (S (S (S (S
-      (S (S (S (S (S (S (S (S (S (S (S (S (S (S (S (S (S (S (S (S (S (S (S (S
-      (S (S (S (S (S (S (S (S (S (S (S (S (S (S (S (S (S (S (S (S (S (S (S (S
-      (S (S (S (S (S (S (S (S (S (S (S (S (S (S (S (S (S
-      O)))))))))))))))))))))))))))))))))))))))))))))))))))))))))))))))))))))))))))))))))))))))
-      (S (S (S (S (S (S (S (S (S (S (S (S (S (S (S (S (S (S (S (S (S (S (S (S
-      (S (S (S (S (S (S (S (S (S (S (S (S (S (S (S (S (S (S (S (S (S (S (S (S
-      (S (S (S (S (S (S (S (S (S (S (S (S (S (S (S (S (S (S (S (S (S (S (S (S
-      (S (S (S (S (S (S (S (S (S (S (S (S (S (S (S (S (S (S (S (S (S (S
-      O))))))))))))))))))))))))))))))))))))))))))))))))))))))))))))))))))))))))))))))))))))))))))))))
-      (String ((Ascii (false, true, false, false, false, false, true,
-      false)), (String ((Ascii (true, false, false, false, false, true, true,
-      false)), (String ((Ascii (false, false, true, false, true, true, true,
-      false)), (String ((Ascii (true, true, false, false, false, true, true,
-      false)), (String ((Ascii (false, false, false, true, false, true, true,
-      false)), (String ((Ascii (false, true, true, true, false, false, true,
-      false)), (String ((Ascii (true, false, true, false, true, true, true,
-      false)), (String ((Ascii (true, false, true, true, false, true, true,
-      false)), (String ((Ascii (false, true, false, false, false, true, true,
-      false)), (String ((Ascii (true, false, true, false, false, true, true,
-      false)), (String ((Ascii (false, true, false, false, true, true, true,
-      false)), EmptyString)))))))))))))))))))))) ((String ((Ascii (false,
-      false, false, false, true, true, true, false)), (String ((Ascii (true,
-      false, false, false, false, true, true, false)), (String ((Ascii
-      (false, true, false, false, true, true, true, false)), (String ((Ascii
-      (true, true, false, false, true, true, true, false)), (String ((Ascii
-      (true, false, true, false, false, true, true, false)), (String ((Ascii
-      (false, true, true, true, false, false, true, false)), (String ((Ascii
-      (true, false, true, false, true, true, true, false)), (String ((Ascii
-      (true, false, true, true, false, true, true, false)), (String ((Ascii
-      (false, true, true, false, false, false, true, false)), (String ((Ascii
-      (true, false, false, true, false, true, true, false)), (String ((Ascii
-      (true, false, true, false, false, true, true, false)), (String ((Ascii
-      (false, false, true, true, false, true, true, false)), (String ((Ascii
-      (false, false, true, false, false, true, true, false)),
-      EmptyString)))))))))))))))))))))))))) :: [])) :: []))))))))))))) }
+let chunked c l =
+  match c with
+  | O -> (match l with
+          | [] -> []
+          | _ :: _ -> l :: [])
+  | S _ -> chop (length l) c l
 
-(** val l_EntryDetail : layout **)
+(** val failing_source : bytes -> nat -> nat -> rerr -> source **)
 
-let l_EntryDetail =
-  { l_name = (String ((Ascii (true, false, true, false, false, false, true,
-    false)), (String ((Ascii (false, true, true, true, false, true, true,
-    false)), (String ((Ascii (false, false, true, false, true, true, true,
-    false)), (String ((Ascii (false, true, false, false, true, true, true,
-    false)), (String ((Ascii (true, false, false, true, true, true, true,
-    false)), (String ((Ascii (false, false, true, false, false, false, true,
-    false)), (String ((Ascii (true, false, true, false, false, true, true,
-    false)), (String ((Ascii (false, false, true, false, true, true, true,
-    false)), (String ((Ascii (true, false, false, false, false, true, true,
-    false)), (String ((Ascii (true, false, false, true, false, true, true,
-    false)), (String ((Ascii (false, false, true, true, false, true, true,
-    false)), EmptyString)))))))))))))))))))))); l_ix = IRune; l_segs = ((SLit
-    ((Npos (XO (XI (XI (XO (XI XH)))))) :: [])) :: ((SItoa (String ((Ascii
-    (false, false, true, false, true, false, true, false)), (String ((Ascii
-    (false, true, false, false, true, true, true, false)), (String ((Ascii
-    (true, false, false, false, false, true, true, false)), (String ((Ascii
-    (false, true, true, true, false, true, true, false)), (String ((Ascii
-    (true, true, false, false, true, true, true, false)), (String ((Ascii
-    (true, false, false, false, false, true, true, false)), (String ((Ascii
-    (true, true, false, false, false, true, true, false)), (String ((Ascii
-    (false, false, true, false, true, true, true, false)), (String ((Ascii
-    (true, false, false, true, false, true, true, false)), (String ((Ascii
-    (true, true, true, true, false, true, true, false)), (String ((Ascii
-    (false, true, true, true, false, true, true, false)), (String ((Ascii
-    (true, true, false, false, false, false, true, false)), (String ((Ascii
-    (true, true, true, true, false, true, true, false)), (String ((Ascii
-    (false, false, true, false, false, true, true, false)), (String ((Ascii
-    (true, false, true, false, false, true, true, false)),
-    EmptyString))))))))))))))))))))))))))))))) :: ((SStr ((String ((Ascii
-    (false, true, false, false, true, false, true, false)), (String ((Ascii
-    (false, false, true, false, false, false, true, false)), (String ((Ascii
-    (false, true, true, false, false, false, true, false)), (String ((Ascii
-    (true, false, false, true, false, false, true, false)), (String ((Ascii
-    (true, false, false, true, false, false, true, false)), (String ((Ascii
-    (false, false, true, false, false, true, true, false)), (String ((Ascii
-    (true, false, true, false, false, true, true, false)), (String ((Ascii
-    (false, true, true, true, false, true, true, false)), (String ((Ascii
-    (false, false, true, false, true, true, true, false)), (String ((Ascii
-    (true, false, false, true, false, true, true, false)), (String ((Ascii
-    (false, true, true, false, false, true, true, false)), (String ((Ascii
-    (true, false, false, true, false, true, true, false)), (String ((Ascii
-    (true, true, false, false, false, true, true, false)), (String ((Ascii
-    (true, false, false, false, false, true, true, false)), (String ((Ascii
-    (false, false, true, false, true, true, true, false)), (String ((Ascii
-    (true, false, false, true, false, true, true, false)), (String ((Ascii
-    (true, true, true, true, false, true, true, false)), (String ((Ascii
-    (false, true, true, true, false, true, true, false)),
-    EmptyString)))))))))))))))))))))))))))))))))))), (S (S (S (S (S (S (S (S
-    O)))))))))) :: ((SRaw (String ((Ascii (true, true, false, false, false,
-    false, true, false)), (String ((Ascii (false, false, false, true, false,
-    true, true, false)), (String ((Ascii (true, false, true, false, false,
-    true, true, false)), (String ((Ascii (true, true, false, false, false,
-    true, true, false)), (String ((Ascii (true, true, false, true, false,
-    true, true, false)), (String ((Ascii (false, false, true, false, false,
-    false, true, false)), (String ((Ascii (true, false, false, true, false,
-    true, true, false)), (String ((Ascii (true, true, true, false, false,
-    true, true, false)), (String ((Ascii (true, false, false, true, false,
-    true, true, false)), (String ((Ascii (false, false, true, false, true,
-    true, true, false)), EmptyString))))))))))))))))))))) :: ((SAlpha
-    ((String ((Ascii (false, false, true, false, false, false, true, false)),
-    (String ((Ascii (false, true, true, false, false, false, true, false)),
-    (String ((Ascii (true, false, false, true, false, false, true, false)),
-    (String ((Ascii (true, false, false, false, false, false, true, false)),
-    (String ((Ascii (true, true, false, false, false, true, true, false)),
-    (String ((Ascii (true, true, false, false, false, true, true, false)),
-    (String ((Ascii (true, true, true, true, false, true, true, false)),
-    (String ((Ascii (true, false, true, false, true, true, true, false)),
-    (String ((Ascii (false, true, true, true, false, true, true, false)),
-    (String ((Ascii (false, false, true, false, true, true, true, false)),
-    (String ((Ascii (false, true, true, true, false, false, true, false)),
-    (String ((Ascii (true, false, true, false, true, true, true, false)),
-    (String ((Ascii (true, false, true, true, false, true, true, false)),
-    (String ((Ascii (false, true, false, false, false, true, true, false)),
-    (String ((Ascii (true, false, true, false, false, true, true, false)),
-    (String ((Ascii (false, true, false, false, true, true, true, false)),
-    EmptyString)))))))))))))))))))))))))))))))), (S (S (S (S (S (S (S (S (S
-    (S (S (S (S (S (S (S (S O))))))))))))))))))) :: ((SNum ((String ((Ascii
-    (true, false, false, false, false, false, true, false)), (String ((Ascii
-    (true, false, true, true, false, true, true, false)), (String ((Ascii
-    (true, true, true, true, false, true, true, false)), (String ((Ascii
-    (true, false, true, false, true, true, true, false)), (String ((Ascii
-    (false, true, true, true, false, true, true, false)), (String ((Ascii
-    (false, false, true, false, true, true, true, false)),
-    EmptyString)))))))))))), (S (S (S (S (S (S (S (S (S (S
-    O)))))))))))) :: ((SAlpha ((String ((Ascii (true, false, false, true,
-    false, false, true, false)), (String ((Ascii (false, false, true, false,
-    false, true, true, false)), (String ((Ascii (true, false, true, false,
-    false, true, true, false)), (String ((Ascii (false, true, true, true,
-    false, true, true, false)), (String ((Ascii (false, false, true, false,
-    true, true, true, false)), (String ((Ascii (true, false, false, true,
-    false, true, true, false)), (String ((Ascii (false, true, true, false,
-    false, true, true, false)), (String ((Ascii (true, false, false, true,
-    false, true, true, false)), (String ((Ascii (true, true, false, false,
-    false, true, true, false)), (String ((Ascii (true, false, false, false,
-    false, true, true, false)), (String ((Ascii (false, false, true, false,
-    true, true, true, false)), (String ((Ascii (true, false, false, true,
-    false, true, true, false)), (String ((Ascii (true, true, true, true,
-    false, true, true, false)), (String ((Ascii (false, true, true, true,
-    false, true, true, false)), (String ((Ascii (false, true, true, true,
-    false, false, true, false)), (String ((Ascii (true, false, true, false,
-    true, true, true, false)), (String ((Ascii (true, false, true, true,
-    false, true, true, false)), (String ((Ascii (false, true, false, false,
-    false, true, true, false)), (String ((Ascii (true, false, true, false,
-    false, true, true, false)), (String ((Ascii (false, true, false, false,
-    true, true, true, false)),
-    EmptyString)))))))))))))))))))))))))))))))))))))))), (S (S (S (S (S (S (S
-    (S (S (S (S (S (S (S (S O))))))))))))))))) :: ((SAlpha ((String ((Ascii
-    (true, false, false, true, false, false, true, false)), (String ((Ascii
-    (false, true, true, true, false, true, true, false)), (String ((Ascii
-    (false, false, true, false, false, true, true, false)), (String ((Ascii
-    (true, false, false, true, false, true, true, false)), (String ((Ascii
-    (false, true, true, false, true, true, true, false)), (String ((Ascii
-    (true, false, false, true, false, true, true, false)), (String ((Ascii
-    (false, false, true, false, false, true, true, false)), (String ((Ascii
-    (true, false, true, false, true, true, true, false)), (String ((Ascii
-    (true, false, false, false, false, true, true, false)), (String ((Ascii
-    (false, false, true, true, false, true, true, false)), (String ((Ascii
-    (false, true, true, true, false, false, true, false)), (String ((Ascii
-    (true, false, false, false, false, true, true, false)), (String ((Ascii
-    (true, false, true, true, false, true, true, false)), (String ((Ascii
-    (true, false, true, false, false, true, true, false)),
-    EmptyString)))))))))))))))))))))))))))), (S (S (S (S (S (S (S (S (S (S (S
-    (S (S (S (S (S (S (S (S (S (S (S O)))))))))))))))))))))))) :: ((SAlpha
-    ((String ((Ascii (false, false, true, false, false, false, true, false)),
-    (String ((Ascii (true, false, false, true, false, true, true, false)),
-    (String ((Ascii (true, true, false, false, true, true, true, false)),
-    (String ((Ascii (true, true, false, false, false, true, true, false)),
-    (String ((Ascii (false, true, false, false, true, true, true, false)),
-    (String ((Ascii (true, false, true, false, false, true, true, false)),
-    (String ((Ascii (false, false, true, false, true, true, true, false)),
-    (String ((Ascii (true, false, false, true, false, true, true, false)),
-    (String ((Ascii (true, true, true, true, false, true, true, false)),
-    (String ((Ascii (false, true, true, true, false, true, true, false)),
-    (String ((Ascii (true, false, false, false, false, true, true, false)),
-    (String ((Ascii (false, true, false, false, true, true, true, false)),
-    (String ((Ascii (true, false, false, true, true, true, true, false)),
-    (String ((Ascii (false, false, true, false, false, false, true, false)),
-    (String ((Ascii (true, false, false, false, false, true, true, false)),
-    (String ((Ascii (false, false, true, false, true, true, true, false)),
-    (String ((Ascii (true, false, false, false, false, true, true, false)),
-    EmptyString)))))))))))))))))))))))))))))))))), (S (S O)))) :: ((SItoa
-    (String ((Ascii (true, false, false, false, false, false, true, false)),
-    (String ((Ascii (false, false, true, false, false, true, true, false)),
-    (String ((Ascii (false, false, true, false, false, true, true, false)),
-    (String ((Ascii (true, false, true, false, false, true, true, false)),
-    (String ((Ascii (false, true, true, true, false, true, true, false)),
-    (String ((Ascii (false, false, true, false, false, true, true, false)),
-    (String ((Ascii (true, false, false, false, false, true, true, false)),
-    (String ((Ascii (false, true, false, false, true, false, true, false)),
-    (String ((Ascii (true, false, true, false, false, true, true, false)),
-    (String ((Ascii (true, true, false, false, false, true, true, false)),
-    (String ((Ascii (true, true, true, true, false, true, true, false)),
-    (String ((Ascii (false, true, false, false, true, true, true, false)),
-    (String ((Ascii (false, false, true, false, false, true, true, false)),
-    (String ((Ascii (true, false, false, true, false, false, true, false)),
-    (String ((Ascii (false, true, true, true, false, true, true, false)),
-    (String ((Ascii (false, false, true, false, false, true, true, false)),
-    (String ((Ascii (true, false, false, true, false, true, true, false)),
-    (String ((Ascii (true, true, false, false, false, true, true, false)),
-    (String ((Ascii (true, false, false, false, false, true, true, false)),
-    (String ((Ascii (false, false, true, false, true, true, true, false)),
-    (String ((Ascii (true, true, true, true, false, true, true, false)),
-    (String ((Ascii (false, true, false, false, true, true, true, false)),
-    EmptyString))))))))))))))))))))))))))))))))))))))))))))) :: ((SStr
-    ((String ((Ascii (false, false, true, false, true, false, true, false)),
-    (String ((Ascii (false, true, false, false, true, true, true, false)),
-    (String ((Ascii (true, false, false, false, false, true, true, false)),
-    (String ((Ascii (true, true, false, false, false, true, true, false)),
-    (String ((Ascii (true, false, true, false, false, true, true, false)),
-    (String ((Ascii (false, true, true, true, false, false, true, false)),
-    (String ((Ascii (true, false, true, false, true, true, true, false)),
-    (String ((Ascii (true, false, true, true, false, true, true, false)),
-    (String ((Ascii (false, true, false, false, false, true, true, false)),
-    (String ((Ascii (true, false, true, false, false, true, true, false)),
-    (String ((Ascii (false, true, false, false, true, true, true, false)),
-    EmptyString)))))))))))))))))))))), (S (S (S (S (S (S (S (S (S (S (S (S (S
-    (S (S O))))))))))))))))) :: []))))))))))); l_cuts =
-    ((mkcut O (S O) EmptyString []) :: ((mkcut (S O) (S (S (S O))) (String
-                                          ((Ascii (false, false, true, false,
-                                          true, false, true, false)), (String
-                                          ((Ascii (false, true, false, false,
-                                          true, true, true, false)), (String
-                                          ((Ascii (true, false, false, false,
-                                          false, true, true, false)), (String
-                                          ((Ascii (false, true, true, true,
-                                          false, true, true, false)), (String
-                                          ((Ascii (true, true, false, false,
-                                          true, true, true, false)), (String
-                                          ((Ascii (true, false, false, false,
-                                          false, true, true, false)), (String
-                                          ((Ascii (true, true, false, false,
-                                          false, true, true, false)), (String
-                                          ((Ascii (false, false, true, false,
-                                          true, true, true, false)), (String
-                                          ((Ascii (true, false, false, true,
-                                          false, true, true, false)), (String
-                                          ((Ascii (true, true, true, true,
-                                          false, true, true, false)), (String
-                                          ((Ascii (false, true, true, true,
-                                          false, true, true, false)), (String
-                                          ((Ascii (true, true, false, false,
-                                          false, false, true, false)),
-                                          (String ((Ascii (true, true, true,
-                                          true, false, true, true, false)),
-                                          (String ((Ascii (false, false,
-                                          true, false, false, true, true,
-                                          false)), (String ((Ascii (true,
-                                          false, true, false, false, true,
-                                          true, false)),
-                                          EmptyString))))))))))))))))))))))))))))))
-                                          ((String ((Ascii (false, false,
-                                          false, false, true, true, true,
-                                          false)), (String ((Ascii (true,
-                                          false, false, false, false, true,
-                                          true, false)), (String ((Ascii
-                                          (false, true, false, false, true,
-                                          true, true, false)), (String
-                                          ((Ascii (true, true, false, false,
-                                          true, true, true, false)), (String
-                                          ((Ascii (true, false, true, false,
-                                          false, true, true, false)), (String
-                                          ((Ascii (false, true, true, true,
-                                          false, false, true, false)),
-                                          (String ((Ascii (true, false, true,
-                                          false, true, true, true, false)),
-                                          (String ((Ascii (true, false, true,
-                                          true, false, true, true, false)),
-                                          (String ((Ascii (false, true, true,
-                                          false, false, false, true, false)),
-                                          (String ((Ascii (true, false,
-                                          false, true, false, true, true,
-                                          false)), (String ((Ascii (true,
-                                          false, true, false, false, true,
-                                          true, false)), (String ((Ascii
-                                          (false, false, true, true, false,
-                                          true, true, false)), (String
-                                          ((Ascii (false, false, true, false,
-                                          false, true, true, false)),
-                                          EmptyString)))))))))))))))))))))))))) :: [])) :: (
-    (mkcut (S (S (S O))) (S (S (S (S (S (S (S (S (S (S (S O)))))))))))
-      (String ((Ascii (false, true, false, false, true, false, true, false)),
-      (String ((Ascii (false, false, true, false, false, false, true,
-      false)), (String ((Ascii (false, true, true, false, false, false, true,
-      false)), (String ((Ascii (true, false, false, true, false, false, true,
-      false)), (String ((Ascii (true, false, false, true, false, false, true,
-      false)), (String ((Ascii (false, false, true, false, false, true, true,
-      false)), (String ((Ascii (true, false, true, false, false, true, true,
-      false)), (String ((Ascii (false, true, true, true, false, true, true,
-      false)), (String ((Ascii (false, false, true, false, true, true, true,
-      false)), (String ((Ascii (true, false, false, true, false, true, true,
-      false)), (String ((Ascii (false, true, true, false, false, true, true,
-      false)), (String ((Ascii (true, false, false, true, false, true, true,
-      false)), (String ((Ascii (true, true, false, false, false, true, true,
-      false)), (String ((Ascii (true, false, false, false, false, true, true,
-      false)), (String ((Ascii (false, false, true, false, true, true, true,
-      false)), (String ((Ascii (true, false, false, true, false, true, true,
-      false)), (String ((Ascii (true, true, true, true, false, true, true,
-      false)), (String ((Ascii (false, true, true, true, false, true, true,
-      false)), EmptyString)))))))))))))))))))))))))))))))))))) []) :: (
-    (mkcut (S (S (S (S (S (S (S (S (S (S (S O))))))))))) (S (S (S (S (S (S (S
-      (S (S (S (S (S O)))))))))))) (String ((Ascii (true, true, false, false,
-      false, false, true, false)), (String ((Ascii (false, false, false,
-      true, false, true, true, false)), (String ((Ascii (true, false, true,
-      false, false, true, true, false)), (String ((Ascii (true, true, false,
-      false, false, true, true, false)), (String ((Ascii (true, true, false,
-      true, false, true, true, false)), (String ((Ascii (false, false, true,
-      false, false, false, true, false)), (String ((Ascii (true, false,
-      false, true, false, true, true, false)), (String ((Ascii (true, true,
-      true, false, false, true, true, false)), (String ((Ascii (true, false,
-      false, true, false, true, true, false)), (String ((Ascii (false, false,
-      true, false, true, true, true, false)), EmptyString))))))))))))))))))))
-      []) :: ((mkcut (S (S (S (S (S (S (S (S (S (S (S (S O)))))))))))) (S (S
-                (S (S (S (S (S (S (S (S (S (S (S (S (S (S (S (S (S (S (S (S
-                (S (S (S (S (S (S (S O))))))))))))))))))))))))))))) (String
-                ((Ascii (false, false, true, false, false, false, true,
-                false)), (String ((Ascii (false, true, true, false, false,
-                false, true, false)), (String ((Ascii (true, false, false,
-                true, false, false, true, false)), (String ((Ascii (true,
-                false, false, false, false, false, true, false)), (String
-                ((Ascii (true, true, false, false, false, true, true,
-                false)), (String ((Ascii (true, true, false, false, false,
-                true, true, false)), (String ((Ascii (true, true, true, true,
-                false, true, true, false)), (String ((Ascii (true, false,
-                true, false, true, true, true, false)), (String ((Ascii
-                (false, true, true, true, false, true, true, false)), (String
-                ((Ascii (false, false, true, false, true, true, true,
-                false)), (String ((Ascii (false, true, true, true, false,
-                false, true, false)), (String ((Ascii (true, false, true,
-                false, true, true, true, false)), (String ((Ascii (true,
-                false, true, true, false, true, true, false)), (String
-                ((Ascii (false, true, false, false, false, true, true,
-                false)), (String ((Ascii (true, false, true, false, false,
-                true, true, false)), (String ((Ascii (false, true, false,
-                false, true, true, true, false)),
-                EmptyString)))))))))))))))))))))))))))))))) ((String ((Ascii
-                (false, false, false, false, true, true, true, false)),
-                (String ((Ascii (true, false, false, false, false, true,
-                true, false)), (String ((Ascii (false, true, false, false,
-                true, true, true, false)), (String ((Ascii (true, true,
-                false, false, true, true, true, false)), (String ((Ascii
-                (true, false, true, false, false, true, true, false)),
-                (String ((Ascii (true, true, false, false, true, false, true,
-                false)), (String ((Ascii (false, false, true, false, true,
-                true, true, false)), (String ((Ascii (false, true, false,
-                false, true, true, true, false)), (String ((Ascii (true,
-                false, false, true, false, true, true, false)), (String
-                ((Ascii (false, true, true, true, false, true, true, false)),
-                (String ((Ascii (true, true, true, false, false, true, true,
-                false)), (String ((Ascii (false, true, true, false, false,
-                false, true, false)), (String ((Ascii (true, false, false,
-                true, false, true, true, false)), (String ((Ascii (true,
-                false, true, false, false, true, true, false)), (String
-                ((Ascii (false, false, true, true, false, true, true,
-                false)), (String ((Ascii (false, false, true, false, false,
-                true, true, false)), (String ((Ascii (true, true, true,
-                false, true, false, true, false)), (String ((Ascii (true,
-                false, false, true, false, true, true, false)), (String
-                ((Ascii (false, false, true, false, true, true, true,
-                false)), (String ((Ascii (false, false, false, true, false,
-                true, true, false)), (String ((Ascii (true, true, true, true,
-                false, false, true, false)), (String ((Ascii (false, false,
-                false, false, true, true, true, false)), (String ((Ascii
-                (false, false, true, false, true, true, true, false)),
-                (String ((Ascii (true, true, false, false, true, true, true,
-                false)),
-                EmptyString)))))))))))))))))))))))))))))))))))))))))))))))) :: [])) :: (
-    (mkcut (S (S (S (S (S (S (S (S (S (S (S (S (S (S (S (S (S (S (S (S (S (S
-      (S (S (S (S (S (S (S O))))))))))))))))))))))))))))) (S (S (S (S (S (S
-      (S (S (S (S (S (S (S (S (S (S (S (S (S (S (S (S (S (S (S (S (S (S (S (S
-      (S (S (S (S (S (S (S (S (S O)))))))))))))))))))))))))))))))))))))))
-      (String ((Ascii (true, false, false, false, false, false, true,
-      false)), (String ((Ascii (true, false, true, true, false, true, true,
-      false)), (String ((Ascii (true, true, true, true, false, true, true,
-      false)), (String ((Ascii (true, false, true, false, true, true, true,
-      false)), (String ((Ascii (false, true, true, true, false, true, true,
-      false)), (String ((Ascii (false, false, true, false, true, true, true,
-      false)), EmptyString)))))))))))) ((String ((Ascii (false, false, false,
-      false, true, true, true, false)), (String ((Ascii (true, false, false,
-      false, false, true, true, false)), (String ((Ascii (false, true, false,
-      false, true, true, true, false)), (String ((Ascii (true, true, false,
-      false, true, true, true, false)), (String ((Ascii (true, false, true,
-      false, false, true, true, false)), (String ((Ascii (false, true, true,
-      true, false, false, true, false)), (String ((Ascii (true, false, true,
-      false, true, true, true, false)), (String ((Ascii (true, false, true,
-      true, false, true, true, false)), (String ((Ascii (false, true, true,
-      false, false, false, true, false)), (String ((Ascii (true, false,
-      false, true, false, true, true, false)), (String ((Ascii (true, false,
-      true, false, false, true, true, false)), (String ((Ascii (false, false,
-      true, true, false, true, true, false)), (String ((Ascii (false, false,
-      true, false, false, true, true, false)),
-      EmptyString)))))))))))))))))))))))))) :: [])) :: ((mkcut (S (S (S (S (S
-                                                          (S (S (S (S (S (S
-                                                          (S (S (S (S (S (S
-                                                          (S (S (S (S (S (S
-                                                          (S (S (S (S (S (S
-                                                          (S (S (S (S (S (S
-                                                          (S (S (S (S
-                                                          O)))))))))))))))))))))))))))))))))))))))
-                                                          (S (S (S (S (S (S
-                                                          (S (S (S (S (S (S
-                                                          (S (S (S (S (S (S
-                                                          (S (S (S (S (S (S
-                                                          (S (S (S (S (S (S
-                                                          (S (S (S (S (S (S
-                                                          (S (S (S (S (S (S
-                                                          (S (S (S (S (S (S
-                                                          (S (S (S (S (S (S
-                                                          O))))))))))))))))))))))))))))))))))))))))))))))))))))))
-                                                          (String ((Ascii
-                                                          (true, false,
-                                                          false, true, false,
-                                                          false, true,
-                                                          false)), (String
-                                                          ((Ascii (false,
-                                                          false, true, false,
-                                                          false, true, true,
-                                                          false)), (String
-                                                          ((Ascii (true,
-                                                          false, true, false,
-                                                          false, true, true,
-                                                          false)), (String
-                                                          ((Ascii (false,
-                                                          true, true, true,
-                                                          false, true, true,
-                                                          false)), (String
-                                                          ((Ascii (false,
-                                                          false, true, false,
-                                                          true, true, true,
-                                                          false)), (String
-                                                          ((Ascii (true,
-                                                          false, false, true,
-                                                          false, true, true,
-                                                          false)), (String
-                                                          ((Ascii (false,
-                                                          true, true, false,
-                                                          false, true, true,
-                                                          false)), (String
-                                                          ((Ascii (true,
-                                                          false, false, true,
-                                                          false, true, true,
-                                                          false)), (String
-                                                          ((Ascii (true,
-                                                          true, false, false,
-                                                          false, true, true,
-                                                          false)), (String
-                                                          ((Ascii (true,
-                                                          false, false,
-                                                          false, false, true,
-                                                          true, false)),
-                                                          (String ((Ascii
-                                                          (false, false,
-                                                          true, false, true,
-                                                          true, true,
-                                                          false)), (String
-                                                          ((Ascii (true,
-                                                          false, false, true,
-                                                          false, true, true,
-                                                          false)), (String
-                                                          ((Ascii (true,
-                                                          true, true, true,
-                                                          false, true, true,
-                                                          false)), (String
-                                                          ((Ascii (false,
-                                                          true, true, true,
-                                                          false, true, true,
-                                                          false)), (String
-                                                          ((Ascii (false,
-                                                          true, true, true,
-                                                          false, false, true,
-                                                          false)), (String
-                                                          ((Ascii (true,
-                                                          false, true, false,
-                                                          true, true, true,
-                                                          false)), (String
-                                                          ((Ascii (true,
-                                                          false, true, true,
-                                                          false, true, true,
-                                                          false)), (String
-                                                          ((Ascii (false,
-                                                          true, false, false,
-                                                          false, true, true,
-                                                          false)), (String
-                                                          ((Ascii (true,
-                                                          false, true, false,
-                                                          false, true, true,
-                                                          false)), (String
-                                                          ((Ascii (false,
-                                                          true, false, false,
-                                                          true, true, true,
-                                                          false)),
-                                                          EmptyString))))))))))))))))))))))))))))))))))))))))
-                                                          []) :: ((mkcut (S
-                                                                    (S (S (S
-                                                                    (S (S (S
-                                                                    (S (S (S
-                                                                    (S (S (S
-                                                                    (S (S (S
-                                                                    (S (S (S
-                                                                    (S (S (S
-                                                                    (S (S (S
-                                                                    (S (S (S
-                                                                    (S (S (S
-                                                                    (S (S (S
-                                                                    (S (S (S
-                                                                    (S (S (S
-                                                                    (S (S (S
-                                                                    (S (S (S
-                                                                    (S (S (S
-                                                                    (S (S (S
-                                                                    (S (S
-                                                                    O))))))))))))))))))))))))))))))))))))))))))))))))))))))
-                                                                    (S (S (S
-                                                                    (S (S (S
-                                                                    (S (S (S
-                                                                    (S (S (S
-                                                                    (S (S (S
-                                                                    (S (S (S
-                                                                    (S (S (S
-                                                                    (S (S (S
-                                                                    (S (S (S
-                                                                    (S (S (S
-                                                                    (S (S (S
-                                                                    (S (S (S
-                                                                    (S (S (S
-                                                                    (S (S (S
-                                                                    (S (S (S
-                                                                    (S (S (S
-                                                                    (S (S (S
-                                                                    (S (S (S
-                                                                    (S (S (S
-                                                                    (S (S (S
-                                                                    (S (S (S
-                                                                    (S (S (S
-                                                                    (S (S (S
-                                                                    (S (S (S
-                                                                    (S (S (S
-                                                                    (S
-                                                                    O))))))))))))))))))))))))))))))))))))))))))))))))))))))))))))))))))))))))))))
-                                                                    (String
-                                                                    ((Ascii
-                                                                    (true,
-                                                                    false,
-                                                                    false,
-                                                                    true,
-                                                                    false,
-                                                                    false,
-                                                                    true,
-                                                                    false)),
-                                                                    (String
-                                                                    ((Ascii
-                                                                    (false,
-                                                                    true,
-                                                                    true,
-                                                                    true,
-                                                                    false,
-                                                                    true,
-                                                                    true,
-                                                                    false)),
-                                                                    (String
-                                                                    ((Ascii
-                                                                    (false,
-                                                                    false,
-                                                                    true,
-                                                                    false,
-                                                                    false,
-                                                                    true,
-                                                                    true,
-                                                                    false)),
-                                                                    (String
-                                                                    ((Ascii
-                                                                    (true,
-                                                                    false,
-                                                                    false,
-                                                                    true,
-                                                                    false,
-                                                                    true,
-                                                                    true,
-                                                                    false)),
-                                                                    (String
-                                                                    ((Ascii
-                                                                    (false,
-                                                                    true,
-                                                                    true,
-                                                                    false,
-                                                                    true,
-                                                                    true,
-                                                                    true,
-                                                                    false)),
-                                                                    (String
-                                                                    ((Ascii
-                                                                    (true,
-                                                                    false,
-                                                                    false,
-                                                                    true,
-                                                                    false,
-                                                                    true,
-                                                                    true,
-                                                                    false)),
-                                                                    (String
-                                                                    ((Ascii
-                                                                    (false,
-                                                                    false,
-                                                                    true,
-                                                                    false,
-                                                                    false,
-                                                                    true,
-                                                                    true,
-                                                                    false)),
-                                                                    (String
-                                                                    ((Ascii
-                                                                    (true,
-                                                                    false,
-                                                                    true,
-                                                                    false,
-                                                                    true,
-                                                                    true,
-                                                                    true,
-                                                                    false)),
-                                                                    (String
-                                                                    ((Ascii
-                                                                    (true,
-                                                                    false,
-                                                                    false,
-                                                                    false,
-                                                                    false,
-                                                                    true,
-                                                                    true,
-                                                                    false)),
-                                                                    (String
-                                                                    ((Ascii
-                                                                    (false,
-                                                                    false,
-                                                                    true,
-                                                                    true,
-                                                                    false,
-                                                                    true,
-                                                                    true,
-                                                                    false)),
-                                                                    (String
-                                                                    ((Ascii
-                                                                    (false,
-                                                                    true,
-                                                                    true,
-                                                                    true,
-                                                                    false,
-                                                                    false,
-                                                                    true,
-                                                                    false)),
-                                                                    (String
-                                                                    ((Ascii
-                                                                    (true,
-                                                                    false,
-                                                                    false,
-                                                                    false,
-                                                                    false,
-                                                                    true,
-                                                                    true,
-                                                                    false)),
-                                                                    (String
-                                                                    ((Ascii
-                                                                    (true,
-                                                                    false,
-                                                                    true,
-                                                                    true,
-                                                                    false,
-                                                                    true,
-                                                                    true,
-                                                                    false)),
-                                                                    (String
-                                                                    ((Ascii
-                                                                    (true,
-                                                                    false,
-                                                                    true,
-                                                                    false,
-                                                                    false,
-                                                                    true,
-                                                                    true,
-                                                                    false)),
-                                                                    EmptyString))))))))))))))))))))))))))))
-                                                                    []) :: (
-    (mkcut (S (S (S (S (S (S (S (S (S (S (S (S (S (S (S (S (S (S (S (S (S (S
-      (S (S (S (S (S (S (S (S (S (S (S (S (S (S (S (S (S (S (S (S (S (S (S (S
-      (S (S (S (S (S (S (S (S (S (S (S (S (S (S (S (S (S (S (S (S (S (S (S (S
-      (S (S (S (S (S (S
-      O))))))))))))))))))))))))))))))))))))))))))))))))))))))))))))))))))))))))))))
-      (S (S (S (S (S (S (S (S (S (S (S (S (S (S (S (S (S (S (S (S (S (S (S (S
-      (S (S (S (S (S (S (S (S (S (S (S (S (S (S (S (S (S (S (S (S (S (S (S (S
-      (S (S (S (S (S (S (S (S (S (S (S (S (S (S (S (S (S (S (S (S (S (S (S (S
-      (S (S (S (S (S (S
-      O))))))))))))))))))))))))))))))))))))))))))))))))))))))))))))))))))))))))))))))
-      (String ((Ascii (false, false, true, false, false, false, true,
-      false)), (String ((Ascii (true, false, false, true, false, true, true,
-      false)), (String ((Ascii (true, true, false, false, true, true, true,
-      false)), (String ((Ascii (true, true, false, false, false, true, true,
-      false)), (String ((Ascii (false, true, false, false, true, true, true,
-      false)), (String ((Ascii (true, false, true, false, false, true, true,
-      false)), (String ((Ascii (false, false, true, false, true, true, true,
-      false)), (String ((Ascii (true, false, false, true, false, true, true,
-      false)), (String ((Ascii (true, true, true, true, false, true, true,
-      false)), (String ((Ascii (false, true, true, true, false, true, true,
-      false)), (String ((Ascii (true, false, false, false, false, true, true,
-      false)), (String ((Ascii (false, true, false, false, true, true, true,
-      false)), (String ((Ascii (true, false, false, true, true, true, true,
-      false)), (String ((Ascii (false, false, true, false, false, false,
-      true, false)), (String ((Ascii (true, false, false, false, false, true,
-      true, false)), (String ((Ascii (false, false, true, false, true, true,
-      true, false)), (String ((Ascii (true, false, false, false, false, true,
-      true, false)), EmptyString)))))))))))))))))))))))))))))))))) []) :: (
-    (mkcut (S (S (S (S (S (S (S (S (S (S (S (S (S (S (S (S (S (S (S (S (S (S
-      (S (S (S (S (S (S (S (S (S (S (S (S (S (S (S (S (S (S (S (S (S (S (S (S
-      (S (S (S (S (S (S (S (S (S (S (S (S (S (S (S (S (S (S (S (S (S (S (S (S
-      (S (S (S (S (S (S (S (S
-      O))))))))))))))))))))))))))))))))))))))))))))))))))))))))))))))))))))))))))))))
-      (S (S (S (S (S (S (S (S (S (S (S (S (S (S (S (S (S (S (S (S (S (S (S (S
-      (S (S (S (S (S (S (S (S (S (S (S (S (S (S (S (S (S (S (S (S (S (S (S (S
-      (S (S (S (S (S (S (S (S (S (S (S (S (S (S (S (S (S (S (S (S (S (S (S (S
-      (S (S (S (S (S (S (S
-      O)))))))))))))))))))))))))))))))))))))))))))))))))))))))))))))))))))))))))))))))
-      (String ((Ascii (true, false, false, false, false, false, true,
-      false)), (String ((Ascii (false, false, true, false, false, true, true,
-      false)), (String ((Ascii (false, false, true, false, false, true, true,
-      false)), (String ((Ascii (true, false, true, false, false, true, true,
-      false)), (String ((Ascii (false, true, true, true, false, true, true,
-      false)), (String ((Ascii (false, false, true, false, false, true, true,
-      false)), (String ((Ascii (true, false, false, false, false, true, true,
-      false)), (String ((Ascii (false, true, false, false, true, false, true,
-      false)), (String ((Ascii (true, false, true, false, false, true, true,
-      false)), (String ((Ascii (true, true, false, false, false, true, true,
-      false)), (String ((Ascii (true, true, true, true, false, true, true,
-      false)), (String ((Ascii (false, true, false, false, true, true, true,
-      false)), (String ((Ascii (false, false, true, false, false, true, true,
-      false)), (String ((Ascii (true, false, false, true, false, false, true,
-      false)), (String ((Ascii (false, true, true, true, false, true, true,
-      false)), (String ((Ascii (false, false, true, false, false, true, true,
-      false)), (String ((Ascii (true, false, false, true, false, true, true,
-      false)), (String ((Ascii (true, true, false, false, false, true, true,
-      false)), (String ((Ascii (true, false, false, false, false, true, true,
-      false)), (String ((Ascii (false, false, true, false, true, true, true,
-      false)), (String ((Ascii (true, true, true, true, false, true, true,
-      false)), (String ((Ascii (false, true, false, false, true, true, true,
-      false)), EmptyString))))))))))))))))))))))))))))))))))))))))))))
-      ((String ((Ascii (false, false, false, false, true, true, true,
-      false)), (String ((Ascii (true, false, false, false, false, true, true,
-      false)), (String ((Ascii (false, true, false, false, true, true, true,
-      false)), (String ((Ascii (true, true, false, false, true, true, true,
-      false)), (String ((Ascii (true, false, true, false, false, true, true,
-      false)), (String ((Ascii (false, true, true, true, false, false, true,
-      false)), (String ((Ascii (true, false, true, false, true, true, true,
-      false)), (String ((Ascii (true, false, true, true, false, true, true,
-      false)), (String ((Ascii (false, true, true, false, false, false, true,
-      false)), (String ((Ascii (true, false, false, true, false, true, true,
-      false)), (String ((Ascii (true, false, true, false, false, true, true,
-      false)), (String ((Ascii (false, false, true, true, false, true, true,
-      false)), (String ((Ascii (false, false, true, false, false, true, true,
-      false)), EmptyString)))))))))))))))))))))))))) :: [])) :: ((mkcut (S (S
-                                                                   (S (S (S
-                                                                   (S (S (S
-                                                                   (S (S (S
-                                                                   (S (S (S
-                                                                   (S (S (S
-                                                                   (S (S (S
-                                                                   (S (S (S
-                                                                   (S (S (S
-                                                                   (S (S (S
-                                                                   (S (S (S
-                                                                   (S (S (S
-                                                                   (S (S (S
-                                                                   (S (S (S
-                                                                   (S (S (S
-                                                                   (S (S (S
-                                                                   (S (S (S
-                                                                   (S (S (S
-                                                                   (S (S (S
-                                                                   (S (S (S
-                                                                   (S (S (S
-                                                                   (S (S (S
-                                                                   (S (S (S
-                                                                   (S (S (S
-                                                                   (S (S (S
-                                                                   (S (S (S
-                                                                   (S (S
-                                                                   O)))))))))))))))))))))))))))))))))))))))))))))))))))))))))))))))))))))))))))))))
-                                                                   (S (S (S
-                                                                   (S (S (S
-                                                                   (S (S (S
-                                                                   (S (S (S
-                                                                   (S (S (S
-                                                                   (S (S (S
-                                                                   (S (S (S
-                                                                   (S (S (S
-                                                                   (S (S (S
-                                                                   (S (S (S
-                                                                   (S (S (S
-                                                                   (S (S (S
-                                                                   (S (S (S
-                                                                   (S (S (S
-                                                                   (S (S (S
-                                                                   (S (S (S
-                                                                   (S (S (S
-                                                                   (S (S (S
-                                                                   (S (S (S
-                                                                   (S (S (S
-                                                                   (S (S (S
-                                                                   (S (S (S
-                                                                   (S (S (S
-                                                                   (S (S (S
-                                                                   (S (S (S
-                                                                   (S (S (S
-                                                                   (S (S (S
-                                                                   (S (S (S
-                                                                   (S (S (S
-                                                                   (S (S (S
-                                                                   (S (S (S
-                                                                   (S
-                                                                   O))))))))))))))))))))))))))))))))))))))))))))))))))))))))))))))))))))))))))))))))))))))))))))))
-                                                                   (String
-                                                                   ((Ascii
-                                                                   (false,
-                                                                   false,
-                                                                   true,
-                                                                   false,
-                                                                   true,
-                                                                   false,
-                                                                   true,
-                                                                   false)),
-                                                                   (String
-                                                                   ((Ascii
-                                                                   (false,
-                                                                   true,
-                                                                   false,
-                                                                   false,
-                                                                   true,
-                                                                   true,
-                                                                   true,
-                                                                   false)),
-                                                                   (String
-                                                                   ((Ascii
-                                                                   (true,
-                                                                   false,
-                                                                   false,
-                                                                   false,
-                                                                   false,
-                                                                   true,
-                                                                   true,
-                                                                   false)),
-                                                                   (String
-                                                                   ((Ascii
-                                                                   (true,
-                                                                   true,
-                                                                   false,
-                                                                   false,
-                                                                   false,
-                                                                   true,
-                                                                   true,
-                                                                   false)),
-                                                                   (String
-                                                                   ((Ascii
-                                                                   (true,
-                                                                   false,
-                                                                   true,
-                                                                   false,
-                                                                   false,
-                                                                   true,
-                                                                   true,
-                                                                   false)),
-                                                                   (String
-                                                                   ((Ascii
-                                                                   (false,
-                                                                   true,
-                                                                   true,
-                                                                   true,
-                                                                   false,
-                                                                   false,
-                                                                   true,
-                                                                   false)),
-                                                                   (String
-                                                                   ((Ascii
-                                                                   (true,
-                                                                   false,
-                                                                   true,
-                                                                   false,
-                                                                   true,
-                                                                   true,
-                                                                   true,
-                                                                   false)),
-                                                                   (String
-                                                                   ((Ascii
-                                                                   (true,
-                                                                   false,
-                                                                   true,
-                                                                   true,
-                                                                   false,
-                                                                   true,
-                                                                   true,
-                                                                   false)),
-                                                                   (String
-                                                                   ((Ascii
-                                                                   (false,
-                                                                   true,
-                                                                   false,
-                                                                   false,
-                                                                   false,
-                                                                   true,
-                                                                   true,
-                                                                   false)),
-                                                                   (String
-                                                                   ((Ascii
-                                                                   (true,
-                                                                   false,
-                                                                   true,
-                                                                   false,
-                                                                   false,
-                                                                   true,
-                                                                   true,
-                                                                   false)),
-                                                                   (String
-                                                                   ((Ascii
-                                                                   (false,
-                                                                   true,
-                                                                   false,
-                                                                   false,
-                                                                   true,
-                                                                   true,
-                                                                   true,
-                                                                   false)),
-                                                                   EmptyString))))))))))))))))))))))
-                                                                   []) :: []))))))))))) }
+let failing_source text k c e =
+  { src_chunks = (chunked c (firstn k text)); src_term = (TErr e) }
 
-(** val l_FileControl : layout **)
+(** val healthy_source : bytes -> nat -> source **)
 
-let l_FileControl =
-  { l_name = (String ((Ascii (false, true, true, false, false, false, true,
-    false)), (String ((Ascii (true, false, false, true, false, true, true,
-    false)), (String ((Ascii (false, false, true, true, false, true, true,
-    false)), (String ((Ascii (true, false, true, false, false, true, true,
-    false)), (String ((Ascii (true, true, false, false, false, false, true,
-    false)), (String ((Ascii (true, true, true, true, false, true, true,
-    false)), (String ((Ascii (false, true, true, true, false, true, true,
-    false)), (String ((Ascii (false, false, true, false, true, true, true,
-    false)), (String ((Ascii (false, true, false, false, true, true, true,
-    false)), (String ((Ascii (true, true, true, true, false, true, true,
-    false)), (String ((Ascii (false, false, true, true, false, true, true,
-    false)), EmptyString)))))))))))))))))))))); l_ix = IRune; l_segs = ((SLit
-    ((Npos (XI (XO (XO (XI (XI XH)))))) :: [])) :: ((SNum ((String ((Ascii
-    (false, true, false, false, false, false, true, false)), (String ((Ascii
-    (true, false, false, false, false, true, true, false)), (String ((Ascii
-    (false, false, true, false, true, true, true, false)), (String ((Ascii
-    (true, true, false, false, false, true, true, false)), (String ((Ascii
-    (false, false, false, true, false, true, true, false)), (String ((Ascii
-    (true, true, false, false, false, false, true, false)), (String ((Ascii
-    (true, true, true, true, false, true, true, false)), (String ((Ascii
-    (true, false, true, false, true, true, true, false)), (String ((Ascii
-    (false, true, true, true, false, true, true, false)), (String ((Ascii
-    (false, false, true, false, true, true, true, false)),
-    EmptyString)))))))))))))))))))), (S (S (S (S (S (S O)))))))) :: ((SNum
-    ((String ((Ascii (false, true, false, false, false, false, true, false)),
-    (String ((Ascii (false, false, true, true, false, true, true, false)),
-    (String ((Ascii (true, true, true, true, false, true, true, false)),
-    (String ((Ascii (true, true, false, false, false, true, true, false)),
-    (String ((Ascii (true, true, false, true, false, true, true, false)),
-    (String ((Ascii (true, true, false, false, false, false, true, false)),
-    (String ((Ascii (true, true, true, true, false, true, true, false)),
-    (String ((Ascii (true, false, true, false, true, true, true, false)),
-    (String ((Ascii (false, true, true, true, false, true, true, false)),
-    (String ((Ascii (false, false, true, false, true, true, true, false)),
-    EmptyString)))))))))))))))))))), (S (S (S (S (S (S O)))))))) :: ((SNum
-    ((String ((Ascii (true, false, true, false, false, false, true, false)),
-    (String ((Ascii (false, true, true, true, false, true, true, false)),
-    (String ((Ascii (false, false, true, false, true, true, true, false)),
-    (String ((Ascii (false, true, false, false, true, true, true, false)),
-    (String ((Ascii (true, false, false, true, true, true, true, false)),
-    (String ((Ascii (true, false, false, false, false, false, true, false)),
-    (String ((Ascii (false, false, true, false, false, true, true, false)),
-    (String ((Ascii (false, false, true, false, false, true, true, false)),
-    (String ((Ascii (true, false, true, false, false, true, true, false)),
-    (String ((Ascii (false, true, true, true, false, true, true, false)),
-    (String ((Ascii (false, false, true, false, false, true, true, false)),
-    (String ((Ascii (true, false, false, false, false, true, true, false)),
-    (String ((Ascii (true, true, false, false, false, false, true, false)),
-    (String ((Ascii (true, true, true, true, false, true, true, false)),
-    (String ((Ascii (true, false, true, false, true, true, true, false)),
-    (String ((Ascii (false, true, true, true, false, true, true, false)),
-    (String ((Ascii (false, false, true, false, true, true, true, false)),
-    EmptyString)))))))))))))))))))))))))))))))))), (S (S (S (S (S (S (S (S
-    O)))))))))) :: ((SNum ((String ((Ascii (true, false, true, false, false,
-    false, true, false)), (String ((Ascii (false, true, true, true, false,
-    true, true, false)), (String ((Ascii (false, false, true, false, true,
-    true, true, false)), (String ((Ascii (false, true, false, false, true,
-    true, true, false)), (String ((Ascii (true, false, false, true, true,
-    true, true, false)), (String ((Ascii (false, false, false, true, false,
-    false, true, false)), (String ((Ascii (true, false, false, false, false,
-    true, true, false)), (String ((Ascii (true, true, false, false, true,
-    true, true, false)), (String ((Ascii (false, false, false, true, false,
-    true, true, false)), EmptyString)))))))))))))))))), (S (S (S (S (S (S (S
-    (S (S (S O)))))))))))) :: ((SNum ((String ((Ascii (false, false, true,
-    false, true, false, true, false)), (String ((Ascii (true, true, true,
-    true, false, true, true, false)), (String ((Ascii (false, false, true,
-    false, true, true, true, false)), (String ((Ascii (true, false, false,
-    false, false, true, true, false)), (String ((Ascii (false, false, true,
-    true, false, true, true, false)), (String ((Ascii (false, false, true,
-    false, false, false, true, false)), (String ((Ascii (true, false, true,
-    false, false, true, true, false)), (String ((Ascii (false, true, false,
-    false, false, true, true, false)), (String ((Ascii (true, false, false,
-    true, false, true, true, false)), (String ((Ascii (false, false, true,
-    false, true, true, true, false)), (String ((Ascii (true, false, true,
-    false, false, false, true, false)), (String ((Ascii (false, true, true,
-    true, false, true, true, false)), (String ((Ascii (false, false, true,
-    false, true, true, true, false)), (String ((Ascii (false, true, false,
-    false, true, true, true, false)), (String ((Ascii (true, false, false,
-    true, true, true, true, false)), (String ((Ascii (false, false, true,
-    false, false, false, true, false)), (String ((Ascii (true, true, true,
-    true, false, true, true, false)), (String ((Ascii (false, false, true,
-    true, false, true, true, false)), (String ((Ascii (false, false, true,
-    true, false, true, true, false)), (String ((Ascii (true, false, false,
-    false, false, true, true, false)), (String ((Ascii (false, true, false,
-    false, true, true, true, false)), (String ((Ascii (true, false, false,
-    false, false, false, true, false)), (String ((Ascii (true, false, true,
-    true, false, true, true, false)), (String ((Ascii (true, true, true,
-    true, false, true, true, false)), (String ((Ascii (true, false, true,
-    false, true, true, true, false)), (String ((Ascii (false, true, true,
-    true, false, true, true, false)), (String ((Ascii (false, false, true,
-    false, true, true, true, false)), (String ((Ascii (true, false, false,
-    true, false, false, true, false)), (String ((Ascii (false, true, true,
-    true, false, true, true, false)), (String ((Ascii (false, true, true,
-    false, false, false, true, false)), (String ((Ascii (true, false, false,
-    true, false, true, true, false)), (String ((Ascii (false, false, true,
-    true, false, true, true, false)), (String ((Ascii (true, false, true,
-    false, false, true, true, false)),
-    EmptyString)))))))))))))))))))))))))))))))))))))))))))))))))))))))))))))))))),
-    (S (S (S (S (S (S (S (S (S (S (S (S O)))))))))))))) :: ((SNum ((String
-    ((Ascii (false, false, true, false, true, false, true, false)), (String
-    ((Ascii (true, true, true, true, false, true, true, false)), (String
-    ((Ascii (false, false, true, false, true, true, true, false)), (String
-    ((Ascii (true, false, false, false, false, true, true, false)), (String
-    ((Ascii (false, false, true, true, false, true, true, false)), (String
-    ((Ascii (true, true, false, false, false, false, true, false)), (String
-    ((Ascii (false, true, false, false, true, true, true, false)), (String
-    ((Ascii (true, false, true, false, false, true, true, false)), (String
-    ((Ascii (false, false, true, false, false, true, true, false)), (String
-    ((Ascii (true, false, false, true, false, true, true, false)), (String
-    ((Ascii (false, false, true, false, true, true, true, false)), (String
-    ((Ascii (true, false, true, false, false, false, true, false)), (String
-    ((Ascii (false, true, true, true, false, true, true, false)), (String
-    ((Ascii (false, false, true, false, true, true, true, false)), (String
-    ((Ascii (false, true, false, false, true, true, true, false)), (String
-    ((Ascii (true, false, false, true, true, true, true, false)), (String
-    ((Ascii (false, false, true, false, false, false, true, false)), (String
-    ((Ascii (true, true, true, true, false, true, true, false)), (String
-    ((Ascii (false, false, true, true, false, true, true, false)), (String
-    ((Ascii (false, false, true, true, false, true, true, false)), (String
-    ((Ascii (true, false, false, false, false, true, true, false)), (String
-    ((Ascii (false, true, false, false, true, true, true, false)), (String
-    ((Ascii (true, false, false, false, false, false, true, false)), (String
-    ((Ascii (true, false, true, true, false, true, true, false)), (String
-    ((Ascii (true, true, true, true, false, true, true, false)), (String
-    ((Ascii (true, false, true, false, true, true, true, false)), (String
-    ((Ascii (false, true, true, true, false, true, true, false)), (String
-    ((Ascii (false, false, true, false, true, true, true, false)), (String
-    ((Ascii (true, false, false, true, false, false, true, false)), (String
-    ((Ascii (false, true, true, true, false, true, true, false)), (String
-    ((Ascii (false, true, true, false, false, false, true, false)), (String
-    ((Ascii (true, false, false, true, false, true, true, false)), (String
-    ((Ascii (false, false, true, true, false, true, true, false)), (String
-    ((Ascii (true, false, true, false, false, true, true, false)),
-    EmptyString)))))))))))))))))))))))))))))))))))))))))))))))))))))))))))))))))))),
-    (S (S (S (S (S (S (S (S (S (S (S (S O)))))))))))))) :: ((SLit ((Npos (XO
-    (XO (XO (XO (XO XH)))))) :: ((Npos (XO (XO (XO (XO (XO XH)))))) :: ((Npos
-    (XO (XO (XO (XO (XO XH)))))) :: ((Npos (XO (XO (XO (XO (XO
-    XH)))))) :: ((Npos (XO (XO (XO (XO (XO XH)))))) :: ((Npos (XO (XO (XO (XO
-    (XO XH)))))) :: ((Npos (XO (XO (XO (XO (XO XH)))))) :: ((Npos (XO (XO (XO
-    (XO (XO XH)))))) :: ((Npos (XO (XO (XO (XO (XO XH)))))) :: ((Npos (XO (XO
-    (XO (XO (XO XH)))))) :: ((Npos (XO (XO (XO (XO (XO XH)))))) :: ((Npos (XO
-    (XO (XO (XO (XO XH)))))) :: ((Npos (XO (XO (XO (XO (XO XH)))))) :: ((Npos
-    (XO (XO (XO (XO (XO XH)))))) :: ((Npos (XO (XO (XO (XO (XO
-    XH)))))) :: ((Npos (XO (XO (XO (XO (XO XH)))))) :: ((Npos (XO (XO (XO (XO
-    (XO XH)))))) :: ((Npos (XO (XO (XO (XO (XO XH)))))) :: ((Npos (XO (XO (XO
-    (XO (XO XH)))))) :: ((Npos (XO (XO (XO (XO (XO XH)))))) :: ((Npos (XO (XO
-    (XO (XO (XO XH)))))) :: ((Npos (XO (XO (XO (XO (XO XH)))))) :: ((Npos (XO
-    (XO (XO (XO (XO XH)))))) :: ((Npos (XO (XO (XO (XO (XO XH)))))) :: ((Npos
-    (XO (XO (XO (XO (XO XH)))))) :: ((Npos (XO (XO (XO (XO (XO
-    XH)))))) :: ((Npos (XO (XO (XO (XO (XO XH)))))) :: ((Npos (XO (XO (XO (XO
-    (XO XH)))))) :: ((Npos (XO (XO (XO (XO (XO XH)))))) :: ((Npos (XO (XO (XO
-    (XO (XO XH)))))) :: ((Npos (XO (XO (XO (XO (XO XH)))))) :: ((Npos (XO (XO
-    (XO (XO (XO XH)))))) :: ((Npos (XO (XO (XO (XO (XO XH)))))) :: ((Npos (XO
-    (XO (XO (XO (XO XH)))))) :: ((Npos (XO (XO (XO (XO (XO XH)))))) :: ((Npos
-    (XO (XO (XO (XO (XO XH)))))) :: ((Npos (XO (XO (XO (XO (XO
-    XH)))))) :: ((Npos (XO (XO (XO (XO (XO XH)))))) :: ((Npos (XO (XO (XO (XO
-    (XO XH)))))) :: [])))))))))))))))))))))))))))))))))))))))) :: []))))))));
-    l_cuts =
-    ((mkcut O (S O) EmptyString []) :: ((mkcut (S O) (S (S (S (S (S (S (S
-                                          O))))))) (String ((Ascii (false,
-                                          true, false, false, false, false,
-                                          true, false)), (String ((Ascii
-                                          (true, false, false, false, false,
-                                          true, true, false)), (String
-                                          ((Ascii (false, false, true, false,
-                                          true, true, true, false)), (String
-                                          ((Ascii (true, true, false, false,
-                                          false, true, true, false)), (String
-                                          ((Ascii (false, false, false, true,
-                                          false, true, true, false)), (String
-                                          ((Ascii (true, true, false, false,
-                                          false, false, true, false)),
-                                          (String ((Ascii (true, true, true,
-                                          true, false, true, true, false)),
-                                          (String ((Ascii (true, false, true,
-                                          false, true, true, true, false)),
-                                          (String ((Ascii (false, true, true,
-                                          true, false, true, true, false)),
-                                          (String ((Ascii (false, false,
-                                          true, false, true, true, true,
-                                          false)),
-                                          EmptyString))))))))))))))))))))
-                                          ((String ((Ascii (false, false,
-                                          false, false, true, true, true,
-                                          false)), (String ((Ascii (true,
-                                          false, false, false, false, true,
-                                          true, false)), (String ((Ascii
-                                          (false, true, false, false, true,
-                                          true, true, false)), (String
-                                          ((Ascii (true, true, false, false,
-                                          true, true, true, false)), (String
-                                          ((Ascii (true, false, true, false,
-                                          false, true, true, false)), (String
-                                          ((Ascii (false, true, true, true,
-                                          false, false, true, false)),
-                                          (String ((Ascii (true, false, true,
-                                          false, true, true, true, false)),
-                                          (String ((Ascii (true, false, true,
-                                          true, false, true, true, false)),
-                                          (String ((Ascii (false, true, true,
-                                          false, false, false, true, false)),
-                                          (String ((Ascii (true, false,
-                                          false, true, false, true, true,
-                                          false)), (String ((Ascii (true,
-                                          false, true, false, false, true,
-                                          true, false)), (String ((Ascii
-                                          (false, false, true, true, false,
-                                          true, true, false)), (String
-                                          ((Ascii (false, false, true, false,
-                                          false, true, true, false)),
-                                          EmptyString)))))))))))))))))))))))))) :: [])) :: (
-    (mkcut (S (S (S (S (S (S (S O))))))) (S (S (S (S (S (S (S (S (S (S (S (S
-      (S O))))))))))))) (String ((Ascii (false, true, false, false, false,
-      false, true, false)), (String ((Ascii (false, false, true, true, false,
-      true, true, false)), (String ((Ascii (true, true, true, true, false,
-      true, true, false)), (String ((Ascii (true, true, false, false, false,
-      true, true, false)), (String ((Ascii (true, true, false, true, false,
-      true, true, false)), (String ((Ascii (true, true, false, false, false,
-      false, true, false)), (String ((Ascii (true, true, true, true, false,
-      true, true, false)), (String ((Ascii (true, false, true, false, true,
-      true, true, false)), (String ((Ascii (false, true, true, true, false,
-      true, true, false)), (String ((Ascii (false, false, true, false, true,
-      true, true, false)), EmptyString)))))))))))))))))))) ((String ((Ascii
-      (false, false, false, false, true, true, true, false)), (String ((Ascii
-      (true, false, false, false, false, true, true, false)), (String ((Ascii
-      (false, true, false, false, true, true, true, false)), (String ((Ascii
-      (true, true, false, false, true, true, true, false)), (String ((Ascii
-      (true, false, true, false, false, true, true, false)), (String ((Ascii
-      (false, true, true, true, false, false, true, false)), (String ((Ascii
-      (true, false, true, false, true, true, true, false)), (String ((Ascii
-      (true, false, true, true, false, true, true, false)), (String ((Ascii
-      (false, true, true, false, false, false, true, false)), (String ((Ascii
-      (true, false, false, true, false, true, true, false)), (String ((Ascii
-      (true, false, true, false, false, true, true, false)), (String ((Ascii
-      (false, false, true, true, false, true, true, false)), (String ((Ascii
-      (false, false, true, false, false, true, true, false)),
-      EmptyString)))))))))))))))))))))))))) :: [])) :: ((mkcut (S (S (S (S (S
-                                                          (S (S (S (S (S (S
-                                                          (S (S
-                                                          O))))))))))))) (S
-                                                          (S (S (S (S (S (S
-                                                          (S (S (S (S (S (S
-                                                          (S (S (S (S (S (S
-                                                          (S (S
-                                                          O)))))))))))))))))))))
-                                                          (String ((Ascii
-                                                          (true, false, true,
-                                                          false, false,
-                                                          false, true,
-                                                          false)), (String
-                                                          ((Ascii (false,
-                                                          true, true, true,
-                                                          false, true, true,
-                                                          false)), (String
-                                                          ((Ascii (false,
-                                                          false, true, false,
-                                                          true, true, true,
-                                                          false)), (String
-                                                          ((Ascii (false,
-                                                          true, false, false,
-                                                          true, true, true,
-                                                          false)), (String
-                                                          ((Ascii (true,
-                                                          false, false, true,
-                                                          true, true, true,
-                                                          false)), (String
-                                                          ((Ascii (true,
-                                                          false, false,
-                                                          false, false,
-                                                          false, true,
-                                                          false)), (String
-                                                          ((Ascii (false,
-                                                          false, true, false,
-                                                          false, true, true,
-                                                          false)), (String
-                                                          ((Ascii (false,
-                                                          false, true, false,
-                                                          false, true, true,
-                                                          false)), (String
-                                                          ((Ascii (true,
-                                                          false, true, false,
-                                                          false, true, true,
-                                                          false)), (String
-                                                          ((Ascii (false,
-                                                          true, true, true,
-                                                          false, true, true,
-                                                          false)), (String
-                                                          ((Ascii (false,
-                                                          false, true, false,
-                                                          false, true, true,
-                                                          false)), (String
-                                                          ((Ascii (true,
-                                                          false, false,
-                                                          false, false, true,
-                                                          true, false)),
-                                                          (String ((Ascii
-                                                          (true, true, false,
-                                                          false, false,
-                                                          false, true,
-                                                          false)), (String
-                                                          ((Ascii (true,
-                                                          true, true, true,
-                                                          false, true, true,
-                                                          false)), (String
-                                                          ((Ascii (true,
-                                                          false, true, false,
-                                                          true, true, true,
-                                                          false)), (String
-                                                          ((Ascii (false,
-                                                          true, true, true,
-                                                          false, true, true,
-                                                          false)), (String
-                                                          ((Ascii (false,
-                                                          false, true, false,
-                                                          true, true, true,
-                                                          false)),
-                                                          EmptyString))))))))))))))))))))))))))))))))))
-                                                          ((String ((Ascii
-                                                          (false, false,
-                                                          false, false, true,
-                                                          true, true,
-                                                          false)), (String
-                                                          ((Ascii (true,
-                                                          false, false,
-                                                          false, false, true,
-                                                          true, false)),
-                                                          (String ((Ascii
-                                                          (false, true,
-                                                          false, false, true,
-                                                          true, true,
-                                                          false)), (String
-                                                          ((Ascii (true,
-                                                          true, false, false,
-                                                          true, true, true,
-                                                          false)), (String
-                                                          ((Ascii (true,
-                                                          false, true, false,
-                                                          false, true, true,
-                                                          false)), (String
-                                                          ((Ascii (false,
-                                                          true, true, true,
-                                                          false, false, true,
-                                                          false)), (String
-                                                          ((Ascii (true,
-                                                          false, true, false,
-                                                          true, true, true,
-                                                          false)), (String
-                                                          ((Ascii (true,
-                                                          false, true, true,
-                                                          false, true, true,
-                                                          false)), (String
-                                                          ((Ascii (false,
-                                                          true, true, false,
-                                                          false, false, true,
-                                                          false)), (String
-                                                          ((Ascii (true,
-                                                          false, false, true,
-                                                          false, true, true,
-                                                          false)), (String
-                                                          ((Ascii (true,
-                                                          false, true, false,
-                                                          false, true, true,
-                                                          false)), (String
-                                                          ((Ascii (false,
-                                                          false, true, true,
-                                                          false, true, true,
-                                                          false)), (String
-                                                          ((Ascii (false,
-                                                          false, true, false,
-                                                          false, true, true,
-                                                          false)),
-                                                          EmptyString)))))))))))))))))))))))))) :: [])) :: (
-    (mkcut (S (S (S (S (S (S (S (S (S (S (S (S (S (S (S (S (S (S (S (S (S
-      O))))))))))))))))))))) (S (S (S (S (S (S (S (S (S (S (S (S (S (S (S (S
-      (S (S (S (S (S (S (S (S (S (S (S (S (S (S (S
-      O))))))))))))))))))))))))))))))) (String ((Ascii (true, false, true,
-      false, false, false, true, false)), (String ((Ascii (false, true, true,
-      true, false, true, true, false)), (String ((Ascii (false, false, true,
-      false, true, true, true, false)), (String ((Ascii (false, true, false,
-      false, true, true, true, false)), (String ((Ascii (true, false, false,
-      true, true, true, true, false)), (String ((Ascii (false, false, false,
-      true, false, false, true, false)), (String ((Ascii (true, false, false,
-      false, false, true, true, false)), (String ((Ascii (true, true, false,
-      false, true, true, true, false)), (String ((Ascii (false, false, false,
-      true, false, true, true, false)), EmptyString))))))))))))))))))
-      ((String ((Ascii (false, false, false, false, true, true, true,
-      false)), (String ((Ascii (true, false, false, false, false, true, true,
-      false)), (String ((Ascii (false, true, false, false, true, true, true,
-      false)), (String ((Ascii (true, true, false, false, true, true, true,
-      false)), (String ((Ascii (true, false, true, false, false, true, true,
-      false)), (String ((Ascii (false, true, true, true, false, false, true,
-      false)), (String ((Ascii (true, false, true, false, true, true, true,
-      false)), (String ((Ascii (true, false, true, true, false, true, true,
-      false)), (String ((Ascii (false, true, true, false, false, false, true,
-      false)), (String ((Ascii (true, false, false, true, false, true, true,
-      false)), (String ((Ascii (true, false, true, false, false, true, true,
-      false)), (String ((Ascii (false, false, true, true, false, true, true,
-      false)), (String ((Ascii (false, false, true, false, false, true, true,
-      false)), EmptyString)))))))))))))))))))))))))) :: [])) :: ((mkcut (S (S
-                                                                   (S (S (S
-                                                                   (S (S (S
-                                                                   (S (S (S
-                                                                   (S (S (S
-                                                                   (S (S (S
-                                                                   (S (S (S
-                                                                   (S (S (S
-                                                                   (S (S (S
-                                                                   (S (S (S
-                                                                   (S (S
-                                                                   O)))))))))))))))))))))))))))))))
-                                                                   (S (S (S
-                                                                   (S (S (S
-                                                                   (S (S (S
-                                                                   (S (S (S
-                                                                   (S (S (S
-                                                                   (S (S (S
-                                                                   (S (S (S
-                                                                   (S (S (S
-                                                                   (S (S (S
-                                                                   (S (S (S
-                                                                   (S (S (S
-                                                                   (S (S (S
-                                                                   (S (S (S
-                                                                   (S (S (S
-                                                                   (S
-                                                                   O)))))))))))))))))))))))))))))))))))))))))))
-                                                                   (String
-                                                                   ((Ascii
-                                                                   (false,
-                                                                   false,
-                                                                   true,
-                                                                   false,
-                                                                   true,
-                                                                   false,
-                                                                   true,
-                                                                   false)),
-                                                                   (String
-                                                                   ((Ascii
-                                                                   (true,
-                                                                   true,
-                                                                   true,
-                                                                   true,
-                                                                   false,
-                                                                   true,
-                                                                   true,
-                                                                   false)),
-                                                                   (String
-                                                                   ((Ascii
-                                                                   (false,
-                                                                   false,
-                                                                   true,
-                                                                   false,
-                                                                   true,
-                                                                   true,
-                                                                   true,
-                                                                   false)),
-                                                                   (String
-                                                                   ((Ascii
-                                                                   (true,
-                                                                   false,
-                                                                   false,
-                                                                   false,
-                                                                   false,
-                                                                   true,
-                                                                   true,
-                                                                   false)),
-                                                                   (String
-                                                                   ((Ascii
-                                                                   (false,
-                                                                   false,
-                                                                   true,
-                                                                   true,
-                                                                   false,
-                                                                   true,
-                                                                   true,
-                                                                   false)),
-                                                                   (String
-                                                                   ((Ascii
-                                                                   (false,
-                                                                   false,
-                                                                   true,
-                                                                   false,
-                                                                   false,
-                                                                   false,
-                                                                   true,
-                                                                   false)),
-                                                                   (String
-                                                                   ((Ascii
-                                                                   (true,
-                                                                   false,
-                                                                   true,
-                                                                   false,
-                                                                   false,
-                                                                   true,
-                                                                   true,
-                                                                   false)),
-                                                                   (String
-                                                                   ((Ascii
-                                                                   (false,
-                                                                   true,
-                                                                   false,
-                                                                   false,
-                                                                   false,
-                                                                   true,
-                                                                   true,
-                                                                   false)),
-                                                                   (String
-                                                                   ((Ascii
-                                                                   (true,
-                                                                   false,
-                                                                   false,
-                                                                   true,
-                                                                   false,
-                                                                   true,
-                                                                   true,
-                                                                   false)),
-                                                                   (String
-                                                                   ((Ascii
-                                                                   (false,
-                                                                   false,
-                                                                   true,
-                                                                   false,
-                                                                   true,
-                                                                   true,
-                                                                   true,
-                                                                   false)),
-                                                                   (String
-                                                                   ((Ascii
-                                                                   (true,
-                                                                   false,
-                                                                   true,
-                                                                   false,
-                                                                   false,
-                                                                   false,
-                                                                   true,
-                                                                   false)),
-                                                                   (String
-                                                                   ((Ascii
-                                                                   (false,
-                                                                   true,
-                                                                   true,
-                                                                   true,
-                                                                   false,
-                                                                   true,
-                                                                   true,
-                                                                   false)),
-                                                                   (String
-                                                                   ((Ascii
-                                                                   (false,
-                                                                   false,
-                                                                   true,
-                                                                   false,
-                                                                   true,
-                                                                   true,
-                                                                   true,
-                                                                   false)),
-                                                                   (String
-                                                                   ((Ascii
-                                                                   (false,
-                                                                   true,
-                                                                   false,
-                                                                   false,
-                                                                   true,
-                                                                   true,
-                                                                   true,
-                                                                   false)),
-                                                                   (String
-                                                                   ((Ascii
-                                                                   (true,
-                                                                   false,
-                                                                   false,
-                                                                   true,
-                                                                   true,
-                                                                   true,
-                                                                   true,
-                                                                   false)),
-                                                                   (String
-                                                                   ((Ascii
-                                                                   (false,
-                                                                   false,
-                                                                   true,
-                                                                   false,
-                                                                   false,
-                                                                   false,
-                                                                   true,
-                                                                   false)),
-                                                                   (String
-                                                                   ((Ascii
-                                                                   (true,
-                                                                   true,
-                                                                   true,
-                                                                   true,
-                                                                   false,
-                                                                   true,
-                                                                   true,
-                                                                   false)),
-                                                                   (String
-                                                                   ((Ascii
-                                                                   (false,
-                                                                   false,
-                                                                   true,
-                                                                   true,
-                                                                   false,
-                                                                   true,
-                                                                   true,
-                                                                   false)),
-                                                                   (String
-                                                                   ((Ascii
-                                                                   (false,
-                                                                   false,
-                                                                   true,
-                                                                   true,
-                                                                   false,
-                                                                   true,
-                                                                   true,
-                                                                   false)),
-                                                                   (String
-                                                                   ((Ascii
-                                                                   (true,
-                                                                   false,
-                                                                   false,
-                                                                   false,
-                                                                   false,
-                                                                   true,
-                                                                   true,
-                                                                   false)),
-                                                                   (String
-                                                                   ((Ascii
-                                                                   (false,
-                                                                   true,
-                                                                   false,
-                                                                   false,
-                                                                   true,
-                                                                   true,
-                                                                   true,
-                                                                   false)),
-                                                                   (String
-                                                                   ((Ascii
-                                                                   (true,
-                                                                   false,
-                                                                   false,
-                                                                   false,
-                                                                   false,
-                                                                   false,
-                                                                   true,
-                                                                   false)),
-                                                                   (String
-                                                                   ((Ascii
-                                                                   (true,
-                                                                   false,
-                                                                   true,
-                                                                   true,
-                                                                   false,
-                                                                   true,
-                                                                   true,
-                                                                   false)),
-                                                                   (String
-                                                                   ((Ascii
-                                                                   (true,
-                                                                   true,
-                                                                   true,
-                                                                   true,
-                                                                   false,
-                                                                   true,
-                                                                   true,
-                                                                   false)),
-                                                                   (String
-                                                                   ((Ascii
-                                                                   (true,
-                                                                   false,
-                                                                   true,
-                                                                   false,
-                                                                   true,
-                                                                   true,
-                                                                   true,
-                                                                   false)),
-                                                                   (String
-                                                                   ((Ascii
-                                                                   (false,
-                                                                   true,
-                                                                   true,
-                                                                   true,
-                                                                   false,
-                                                                   true,
-                                                                   true,
-                                                                   false)),
-                                                                   (String
-                                                                   ((Ascii
-                                                                   (false,
-                                                                   false,
-                                                                   true,
-                                                                   false,
-                                                                   true,
-                                                                   true,
-                                                                   true,
-                                                                   false)),
-                                                                   (String
-                                                                   ((Ascii
-                                                                   (true,
-                                                                   false,
-                                                                   false,
-                                                                   true,
-                                                                   false,
-                                                                   false,
-                                                                   true,
-                                                                   false)),
-                                                                   (String
-                                                                   ((Ascii
-                                                                   (false,
-                                                                   true,
-                                                                   true,
-                                                                   true,
-                                                                   false,
-                                                                   true,
-                                                                   true,
-                                                                   false)),
-                                                                   (String
-                                                                   ((Ascii
-                                                                   (false,
-                                                                   true,
-                                                                   true,
-                                                                   false,
-                                                                   false,
-                                                                   false,
-                                                                   true,
-                                                                   false)),
-                                                                   (String
-                                                                   ((Ascii
-                                                                   (true,
-                                                                   false,
-                                                                   false,
-                                                                   true,
-                                                                   false,
-                                                                   true,
-                                                                   true,
-                                                                   false)),
-                                                                   (String
-                                                                   ((Ascii
-                                                                   (false,
-                                                                   false,
-                                                                   true,
-                                                                   true,
-                                                                   false,
-                                                                   true,
-                                                                   true,
-                                                                   false)),
-                                                                   (String
-                                                                   ((Ascii
-                                                                   (true,
-                                                                   false,
-                                                                   true,
-                                                                   false,
-                                                                   false,
-                                                                   true,
-                                                                   true,
-                                                                   false)),
-                                                                   EmptyString))))))))))))))))))))))))))))))))))))))))))))))))))))))))))))))))))
-                                                                   ((String
-                                                                   ((Ascii
-                                                                   (false,
-                                                                   false,
-                                                                   false,
-                                                                   false,
-                                                                   true,
-                                                                   true,
-                                                                   true,
-                                                                   false)),
-                                                                   (String
-                                                                   ((Ascii
-                                                                   (true,
-                                                                   false,
-                                                                   false,
-                                                                   false,
-                                                                   false,
-                                                                   true,
-                                                                   true,
-                                                                   false)),
-                                                                   (String
-                                                                   ((Ascii
-                                                                   (false,
-                                                                   true,
-                                                                   false,
-                                                                   false,
-                                                                   true,
-                                                                   true,
-                                                                   true,
-                                                                   false)),
-                                                                   (String
-                                                                   ((Ascii
-                                                                   (true,
-                                                                   true,
-                                                                   false,
-                                                                   false,
-                                                                   true,
-                                                                   true,
-                                                                   true,
-                                                                   false)),
-                                                                   (String
-                                                                   ((Ascii
-                                                                   (true,
-                                                                   false,
-                                                                   true,
-                                                                   false,
-                                                                   false,
-                                                                   true,
-                                                                   true,
-                                                                   false)),
-                                                                   (String
-                                                                   ((Ascii
-                                                                   (false,
-                                                                   true,
-                                                                   true,
-                                                                   true,
-                                                                   false,
-                                                                   false,
-                                                                   true,
-                                                                   false)),
-                                                                   (String
-                                                                   ((Ascii
-                                                                   (true,
-                                                                   false,
-                                                                   true,
-                                                                   false,
-                                                                   true,
-                                                                   true,
-                                                                   true,
-                                                                   false)),
-                                                                   (String
-                                                                   ((Ascii
-                                                                   (true,
-                                                                   false,
-                                                                   true,
-                                                                   true,
-                                                                   false,
-                                                                   true,
-                                                                   true,
-                                                                   false)),
-                                                                   (String
-                                                                   ((Ascii
-                                                                   (false,
-                                                                   true,
-                                                                   true,
-                                                                   false,
-                                                                   false,
-                                                                   false,
-                                                                   true,
-                                                                   false)),
-                                                                   (String
-                                                                   ((Ascii
-                                                                   (true,
-                                                                   false,
-                                                                   false,
-                                                                   true,
-                                                                   false,
-                                                                   true,
-                                                                   true,
-                                                                   false)),
-                                                                   (String
-                                                                   ((Ascii
-                                                                   (true,
-                                                                   false,
-                                                                   true,
-                                                                   false,
-                                                                   false,
-                                                                   true,
-                                                                   true,
-                                                                   false)),
-                                                                   (String
-                                                                   ((Ascii
-                                                                   (false,
-                                                                   false,
-                                                                   true,
-                                                                   true,
-                                                                   false,
-                                                                   true,
-                                                                   true,
-                                                                   false)),
-                                                                   (String
-                                                                   ((Ascii
-                                                                   (false,
-                                                                   false,
-                                                                   true,
-                                                                   false,
-                                                                   false,
-                                                                   true,
-                                                                   true,
-                                                                   false)),
-                                                                   EmptyString)))))))))))))))))))))))))) :: [])) :: (
-    (mkcut (S (S (S (S (S (S (S (S (S (S (S (S (S (S (S (S (S (S (S (S (S (S
-      (S (S (S (S (S (S (S (S (S (S (S (S (S (S (S (S (S (S (S (S (S
-      O))))))))))))))))))))))))))))))))))))))))))) (S (S (S (S (S (S (S (S (S
-      (S (S (S (S (S (S (S (S (S (S (S (S (S (S (S (S (S (S (S (S (S (S (S (S
-      (S (S (S (S (S (S (S (S (S (S (S (S (S (S (S (S (S (S (S (S (S (S
-      O))))))))))))))))))))))))))))))))))))))))))))))))))))))) (String
-      ((Ascii (false, false, true, false, true, false, true, false)), (String
-      ((Ascii (true, true, true, true, false, true, true, false)), (String
-      ((Ascii (false, false, true, false, true, true, true, false)), (String
-      ((Ascii (true, false, false, false, false, true, true, false)), (String
-      ((Ascii (false, false, true, true, false, true, true, false)), (String
-      ((Ascii (true, true, false, false, false, false, true, false)), (String
-      ((Ascii (false, true, false, false, true, true, true, false)), (String
-      ((Ascii (true, false, true, false, false, true, true, false)), (String
-      ((Ascii (false, false, true, false, false, true, true, false)), (String
-      ((Ascii (true, false, false, true, false, true, true, false)), (String
-      ((Ascii (false, false, true, false, true, true, true, false)), (String
-      ((Ascii (true, false, true, false, false, false, true, false)), (String
-      ((Ascii (false, true, true, true, false, true, true, false)), (String
-      ((Ascii (false, false, true, false, true, true, true, false)), (String
-      ((Ascii (false, true, false, false, true, true, true, false)), (String
-      ((Ascii (true, false, false, true, true, true, true, false)), (String
-      ((Ascii (false, false, true, false, false, false, true, false)),
-      (String ((Ascii (true, true, true, true, false, true, true, false)),
-      (String ((Ascii (false, false, true, true, false, true, true, false)),
-      (String ((Ascii (false, false, true, true, false, true, true, false)),
-      (String ((Ascii (true, false, false, false, false, true, true, false)),
-      (String ((Ascii (false, true, false, false, true, true, true, false)),
-      (String ((Ascii (true, false, false, false, false, false, true,
-      false)), (String ((Ascii (true, false, true, true, false, true, true,
-      false)), (String ((Ascii (true, true, true, true, false, true, true,
-      false)), (String ((Ascii (true, false, true, false, true, true, true,
-      false)), (String ((Ascii (false, true, true, true, false, true, true,
-      false)), (String ((Ascii (false, false, true, false, true, true, true,
-      false)), (String ((Ascii (true, false, false, true, false, false, true,
-      false)), (String ((Ascii (false, true, true, true, false, true, true,
-      false)), (String ((Ascii (false, true, true, false, false, false, true,
-      false)), (String ((Ascii (true, false, false, true, false, true, true,
-      false)), (String ((Ascii (false, false, true, true, false, true, true,
-      false)), (String ((Ascii (true, false, true, false, false, true, true,
-      false)),
-      EmptyString))))))))))))))))))))))))))))))))))))))))))))))))))))))))))))))))))))
-      ((String ((Ascii (false, false, false, false, true, true, true,
-      false)), (String ((Ascii (true, false, false, false, false, true, true,
-      false)), (String ((Ascii (false, true, false, false, true, true, true,
-      false)), (String ((Ascii (true, true, false, false, true, true, true,
-      false)), (String ((Ascii (true, false, true, false, false, true, true,
-      false)), (String ((Ascii (false, true, true, true, false, false, true,
-      false)), (String ((Ascii (true, false, true, false, true, true, true,
-      false)), (String ((Ascii (true, false, true, true, false, true, true,
-      false)), (String ((Ascii (false, true, true, false, false, false, true,
-      false)), (String ((Ascii (true, false, false, true, false, true, true,
-      false)), (String ((Ascii (true, false, true, false, false, true, true,
-      false)), (String ((Ascii (false, false, true, true, false, true, true,
-      false)), (String ((Ascii (false, false, true, false, false, true, true,
-      false)), EmptyString)))))))))))))))))))))))))) :: [])) :: ((mkcut (S (S
-                                                                   (S (S (S
-                                                                   (S (S (S
-                                                                   (S (S (S
-                                                                   (S (S (S
-                                                                   (S (S (S
-                                                                   (S (S (S
-                                                                   (S (S (S
-                                                                   (S (S (S
-                                                                   (S (S (S
-                                                                   (S (S (S
-                                                                   (S (S (S
-                                                                   (S (S (S
-                                                                   (S (S (S
-                                                                   (S (S (S
-                                                                   (S (S (S
-                                                                   (S (S (S
-                                                                   (S (S (S
-                                                                   (S (S
-                                                                   O)))))))))))))))))))))))))))))))))))))))))))))))))))))))
-                                                                   (S (S (S
-                                                                   (S (S (S
-                                                                   (S (S (S
-                                                                   (S (S (S
-                                                                   (S (S (S
-                                                                   (S (S (S
-                                                                   (S (S (S
-                                                                   (S (S (S
-                                                                   (S (S (S
-                                                                   (S (S (S
-                                                                   (S (S (S
-                                                                   (S (S (S
-                                                                   (S (S (S
-                                                                   (S (S (S
-                                                                   (S (S (S
-                                                                   (S (S (S
-                                                                   (S (S (S
-                                                                   (S (S (S
-                                                                   (S (S (S
-                                                                   (S (S (S
-                                                                   (S (S (S
-                                                                   (S (S (S
-                                                                   (S (S (S
-                                                                   (S (S (S
-                                                                   (S (S (S
-                                                                   (S (S (S
-                                                                   (S (S (S
-                                                                   (S (S (S
-                                                                   (S (S (S
-                                                                   (S (S (S
-                                                                   (S (S (S
-                                                                   (S
-                                                                   O))))))))))))))))))))))))))))))))))))))))))))))))))))))))))))))))))))))))))))))))))))))))))))))
-                                                                   EmptyString
-                                                                   []) :: [])))))))) }
+let healthy_source text c =
+  { src_chunks = (chunked c text); src_term = TEOF }
 
-(** val l_FileHeader : layout **)
+(** val current_wpolicy : wpolicy **)
 
-let l_FileHeader =
-  { l_name = (String ((Ascii (false, true, true, false, false, false, true,
-    false)), (String ((Ascii (true, false, false, true, false, true, true,
-    false)), (String ((Ascii (false, false, true, true, false, true, true,
-    false)), (String ((Ascii (true, false, true, false, false, true, true,
-    false)), (String ((Ascii (false, false, false, true, false, false, true,
-    false)), (String ((Ascii (true, false, true, false, false, true, true,
-    false)), (String ((Ascii (true, false, false, false, false, true, true,
-    false)), (String ((Ascii (false, false, true, false, false, true, true,
-    false)), (String ((Ascii (true, false, true, false, false, true, true,
-    false)), (String ((Ascii (false, true, false, false, true, true, true,
-    false)), EmptyString)))))))))))))))))))); l_ix = IRune; l_segs = ((SLit
-    ((Npos (XI (XO (XO (XO (XI XH)))))) :: [])) :: ((SRaw (String ((Ascii
-    (false, false, false, false, true, true, true, false)), (String ((Ascii
-    (false, true, false, false, true, true, true, false)), (String ((Ascii
-    (true, false, false, true, false, true, true, false)), (String ((Ascii
-    (true, true, true, true, false, true, true, false)), (String ((Ascii
-    (false, true, false, false, true, true, true, false)), (String ((Ascii
-    (true, false, false, true, false, true, true, false)), (String ((Ascii
-    (false, false, true, false, true, true, true, false)), (String ((Ascii
-    (true, false, false, true, true, true, true, false)), (String ((Ascii
-    (true, true, false, false, false, false, true, false)), (String ((Ascii
-    (true, true, true, true, false, true, true, false)), (String ((Ascii
-    (false, false, true, false, false, true, true, false)), (String ((Ascii
-    (true, false, true, false, false, true, true, false)),
-    EmptyString))))))))))))))))))))))))) :: ((SCustom ((String ((Ascii
-    (false, true, true, false, false, false, true, false)), (String ((Ascii
-    (true, false, false, true, false, true, true, false)), (String ((Ascii
-    (false, false, true, true, false, true, true, false)), (String ((Ascii
-    (true, false, true, false, false, true, true, false)), (String ((Ascii
-    (false, false, false, true, false, false, true, false)), (String ((Ascii
-    (true, false, true, false, false, true, true, false)), (String ((Ascii
-    (true, false, false, false, false, true, true, false)), (String ((Ascii
-    (false, false, true, false, false, true, true, false)), (String ((Ascii
-    (true, false, true, false, false, true, true, false)), (String ((Ascii
-    (false, true, false, false, true, true, true, false)), (String ((Ascii
-    (false, true, true, true, false, true, false, false)), (String ((Ascii
-    (true, false, false, true, false, false, true, false)), (String ((Ascii
-    (true, false, true, true, false, true, true, false)), (String ((Ascii
-    (true, false, true, true, false, true, true, false)), (String ((Ascii
-    (true, false, true, false, false, true, true, false)), (String ((Ascii
-    (false, false, true, false, false, true, true, false)), (String ((Ascii
-    (true, false, false, true, false, true, true, false)), (String ((Ascii
-    (true, false, false, false, false, true, true, false)), (String ((Ascii
-    (false, false, true, false, true, true, true, false)), (String ((Ascii
-    (true, false, true, false, false, true, true, false)), (String ((Ascii
-    (false, false, true, false, false, false, true, false)), (String ((Ascii
-    (true, false, true, false, false, true, true, false)), (String ((Ascii
-    (true, true, false, false, true, true, true, false)), (String ((Ascii
-    (false, false, true, false, true, true, true, false)), (String ((Ascii
-    (true, false, false, true, false, true, true, false)), (String ((Ascii
-    (false, true, true, true, false, true, true, false)), (String ((Ascii
-    (true, false, false, false, false, true, true, false)), (String ((Ascii
-    (false, false, true, false, true, true, true, false)), (String ((Ascii
-    (true, false, false, true, false, true, true, false)), (String ((Ascii
-    (true, true, true, true, false, true, true, false)), (String ((Ascii
-    (false, true, true, true, false, true, true, false)), (String ((Ascii
-    (false, true, true, false, false, false, true, false)), (String ((Ascii
-    (true, false, false, true, false, true, true, false)), (String ((Ascii
-    (true, false, true, false, false, true, true, false)), (String ((Ascii
-    (false, false, true, true, false, true, true, false)), (String ((Ascii
-    (false, false, true, false, false, true, true, false)),
-    EmptyString)))))))))))))))))))))))))))))))))))))))))))))))))))))))))))))))))))))))),
-    (String ((Ascii (true, true, true, false, true, true, false, false)),
-    (String ((Ascii (false, false, false, false, true, true, false, false)),
-    (String ((Ascii (true, true, false, false, false, true, true, false)),
-    (String ((Ascii (true, false, true, false, false, true, true, false)),
-    (String ((Ascii (true, false, true, false, false, true, true, false)),
-    (String ((Ascii (true, false, false, false, false, true, true, false)),
-    (String ((Ascii (false, true, false, false, false, true, true, false)),
-    (String ((Ascii (false, true, true, false, true, true, false, false)),
-    (String ((Ascii (false, true, true, false, false, true, true, false)),
-    (String ((Ascii (true, false, true, false, true, true, false, false)),
-    (String ((Ascii (false, true, true, false, false, true, true, false)),
-    (String ((Ascii (true, true, false, false, true, true, false, false)),
-    EmptyString)))))))))))))))))))))))))) :: ((SCustom ((String ((Ascii
-    (false, true, true, false, false, false, true, false)), (String ((Ascii
-    (true, false, false, true, false, true, true, false)), (String ((Ascii
-    (false, false, true, true, false, true, true, false)), (String ((Ascii
-    (true, false, true, false, false, true, true, false)), (String ((Ascii
-    (false, false, false, true, false, false, true, false)), (String ((Ascii
-    (true, false, true, false, false, true, true, false)), (String ((Ascii
-    (true, false, false, false, false, true, true, false)), (String ((Ascii
-    (false, false, true, false, false, true, true, false)), (String ((Ascii
-    (true, false, true, false, false, true, true, false)), (String ((Ascii
-    (false, true, false, false, true, true, true, false)), (String ((Ascii
-    (false, true, true, true, false, true, false, false)), (String ((Ascii
-    (true, false, false, true, false, false, true, false)), (String ((Ascii
-    (true, false, true, true, false, true, true, false)), (String ((Ascii
-    (true, false, true, true, false, true, true, false)), (String ((Ascii
-    (true, false, true, false, false, true, true, false)), (String ((Ascii
-    (false, false, true, false, false, true, true, false)), (String ((Ascii
-    (true, false, false, true, false, true, true, false)), (String ((Ascii
-    (true, false, false, false, false, true, true, false)), (String ((Ascii
-    (false, false, true, false, true, true, true, false)), (String ((Ascii
-    (true, false, true, false, false, true, true, false)), (String ((Ascii
-    (true, true, true, true, false, false, true, false)), (String ((Ascii
-    (false, true, false, false, true, true, true, false)), (String ((Ascii
-    (true, false, false, true, false, true, true, false)), (String ((Ascii
-    (true, true, true, false, false, true, true, false)), (String ((Ascii
-    (true, false, false, true, false, true, true, false)), (String ((Ascii
-    (false, true, true, true, false, true, true, false)), (String ((Ascii
-    (false, true, true, false, false, false, true, false)), (String ((Ascii
-    (true, false, false, true, false, true, true, false)), (String ((Ascii
-    (true, false, true, false, false, true, true, false)), (String ((Ascii
-    (false, false, true, true, false, true, true, false)), (String ((Ascii
-    (false, false, true, false, false, true, true, false)),
-    EmptyString)))))))))))))))))))))))))))))))))))))))))))))))))))))))))))))),
-    (String ((Ascii (true, false, false, false, true, true, false, false)),
-    (String ((Ascii (false, true, true, false, false, true, true, false)),
-    (String ((Ascii (false, false, false, false, true, true, false, false)),
-    (String ((Ascii (false, false, false, true, true, true, false, false)),
-    (String ((Ascii (false, false, false, false, true, true, false, false)),
-    (String ((Ascii (false, false, true, false, true, true, false, false)),
-    (String ((Ascii (false, true, false, false, false, true, true, false)),
-    (String ((Ascii (true, true, false, false, false, true, true, false)),
-    (String ((Ascii (false, true, false, false, false, true, true, false)),
-    (String ((Ascii (false, false, true, false, false, true, true, false)),
-    (String ((Ascii (true, false, false, false, false, true, true, false)),
-    (String ((Ascii (true, true, true, false, true, true, false, false)),
-    EmptyString)))))))))))))))))))))))))) :: ((SCustom ((String ((Ascii
-    (false, true, true, false, false, false, true, false)), (String ((Ascii
-    (true, false, false, true, false, true, true, false)), (String ((Ascii
-    (false, false, true, true, false, true, true, false)), (String ((Ascii
-    (true, false, true, false, false, true, true, false)), (String ((Ascii
-    (false, false, false, true, false, false, true, false)), (String ((Ascii
-    (true, false, true, false, false, true, true, false)), (String ((Ascii
-    (true, false, false, false, false, true, true, false)), (String ((Ascii
-    (false, false, true, false, false, true, true, false)), (String ((Ascii
-    (true, false, true, false, false, true, true, false)), (String ((Ascii
-    (false, true, false, false, true, true, true, false)), (String ((Ascii
-    (false, true, true, true, false, true, false, false)), (String ((Ascii
-    (false, true, true, false, false, false, true, false)), (String ((Ascii
-    (true, false, false, true, false, true, true, false)), (String ((Ascii
-    (false, false, true, true, false, true, true, false)), (String ((Ascii
-    (true, false, true, false, false, true, true, false)), (String ((Ascii
-    (true, true, false, false, false, false, true, false)), (String ((Ascii
-    (false, true, false, false, true, true, true, false)), (String ((Ascii
-    (true, false, true, false, false, true, true, false)), (String ((Ascii
-    (true, false, false, false, false, true, true, false)), (String ((Ascii
-    (false, false, true, false, true, true, true, false)), (String ((Ascii
-    (true, false, false, true, false, true, true, false)), (String ((Ascii
-    (true, true, true, true, false, true, true, false)), (String ((Ascii
-    (false, true, true, true, false, true, true, false)), (String ((Ascii
-    (false, false, true, false, false, false, true, false)), (String ((Ascii
-    (true, false, false, false, false, true, true, false)), (String ((Ascii
-    (false, false, true, false, true, true, true, false)), (String ((Ascii
-    (true, false, true, false, false, true, true, false)), (String ((Ascii
-    (false, true, true, false, false, false, true, false)), (String ((Ascii
-    (true, false, false, true, false, true, true, false)), (String ((Ascii
-    (true, false, true, false, false, true, true, false)), (String ((Ascii
-    (false, false, true, true, false, true, true, false)), (String ((Ascii
-    (false, false, true, false, false, true, true, false)),
-    EmptyString)))))))))))))))))))))))))))))))))))))))))))))))))))))))))))))))),
-    (String ((Ascii (true, false, false, false, true, true, false, false)),
-    (String ((Ascii (true, false, true, false, true, true, false, false)),
-    (String ((Ascii (true, true, false, false, false, true, true, false)),
-    (String ((Ascii (false, false, true, false, true, true, false, false)),
-    (String ((Ascii (true, true, true, false, true, true, false, false)),
-    (String ((Ascii (true, false, true, false, true, true, false, false)),
-    (String ((Ascii (true, true, false, false, false, true, true, false)),
-    (String ((Ascii (false, false, true, false, false, true, true, false)),
-    (String ((Ascii (true, false, false, false, false, true, true, false)),
-    (String ((Ascii (true, true, false, false, false, true, true, false)),
-    (String ((Ascii (false, true, false, false, false, true, true, false)),
-    (String ((Ascii (false, false, false, false, true, true, false, false)),
-    EmptyString)))))))))))))))))))))))))) :: ((SCustom ((String ((Ascii
-    (false, true, true, false, false, false, true, false)), (String ((Ascii
-    (true, false, false, true, false, true, true, false)), (String ((Ascii
-    (false, false, true, true, false, true, true, false)), (String ((Ascii
-    (true, false, true, false, false, true, true, false)), (String ((Ascii
-    (false, false, false, true, false, false, true, false)), (String ((Ascii
-    (true, false, true, false, false, true, true, false)), (String ((Ascii
-    (true, false, false, false, false, true, true, false)), (String ((Ascii
-    (false, false, true, false, false, true, true, false)), (String ((Ascii
-    (true, false, true, false, false, true, true, false)), (String ((Ascii
-    (false, true, false, false, true, true, true, false)), (String ((Ascii
-    (false, true, true, true, false, true, false, false)), (String ((Ascii
-    (false, true, true, false, false, false, true, false)), (String ((Ascii
-    (true, false, false, true, false, true, true, false)), (String ((Ascii
-    (false, false, true, true, false, true, true, false)), (String ((Ascii
-    (true, false, true, false, false, true, true, false)), (String ((Ascii
-    (true, true, false, false, false, false, true, false)), (String ((Ascii
-    (false, true, false, false, true, true, true, false)), (String ((Ascii
-    (true, false, true, false, false, true, true, false)), (String ((Ascii
-    (true, false, false, false, false, true, true, false)), (String ((Ascii
-    (false, false, true, false, true, true, true, false)), (String ((Ascii
-    (true, false, false, true, false, true, true, false)), (String ((Ascii
-    (true, true, true, true, false, true, true, false)), (String ((Ascii
-    (false, true, true, true, false, true, true, false)), (String ((Ascii
-    (false, false, true, false, true, false, true, false)), (String ((Ascii
-    (true, false, false, true, false, true, true, false)), (String ((Ascii
-    (true, false, true, true, false, true, true, false)), (String ((Ascii
-    (true, false, true, false, false, true, true, false)), (String ((Ascii
-    (false, true, true, false, false, false, true, false)), (String ((Ascii
-    (true, false, false, true, false, true, true, false)), (String ((Ascii
-    (true, false, true, false, false, true, true, false)), (String ((Ascii
-    (false, false, true, true, false, true, true, false)), (String ((Ascii
-    (false, false, true, false, false, true, true, false)),
-    EmptyString)))))))))))))))))))))))))))))))))))))))))))))))))))))))))))))))),
-    (String ((Ascii (true, false, false, true, true, true, false, false)),
-    (String ((Ascii (false, true, true, false, true, true, false, false)),
-    (String ((Ascii (false, true, true, false, false, true, true, false)),
-    (String ((Ascii (true, true, false, false, false, true, true, false)),
-    (String ((Ascii (true, true, true, false, true, true, false, false)),
-    (String ((Ascii (true, true, false, false, true, true, false, false)),
-    (String ((Ascii (true, false, true, false, false, true, true, false)),
-    (String ((Ascii (false, true, false, false, true, true, false, false)),
-    (String ((Ascii (false, false, true, false, true, true, false, false)),
-    (String ((Ascii (true, false, false, true, true, true, false, false)),
-    (String ((Ascii (true, false, false, false, false, true, true, false)),
-    (String ((Ascii (false, false, true, false, true, true, false, false)),
-    EmptyString)))))))))))))))))))))))))) :: ((SRaw (String ((Ascii (false,
-    true, true, false, false, false, true, false)), (String ((Ascii (true,
-    false, false, true, false, true, true, false)), (String ((Ascii (false,
-    false, true, true, false, true, true, false)), (String ((Ascii (true,
-    false, true, false, false, true, true, false)), (String ((Ascii (true,
-    false, false, true, false, false, true, false)), (String ((Ascii (false,
-    false, true, false, false, false, true, false)), (String ((Ascii (true,
-    false, true, true, false, false, true, false)), (String ((Ascii (true,
-    true, true, true, false, true, true, false)), (String ((Ascii (false,
-    false, true, false, false, true, true, false)), (String ((Ascii (true,
-    false, false, true, false, true, true, false)), (String ((Ascii (false,
-    true, true, false, false, true, true, false)), (String ((Ascii (true,
-    false, false, true, false, true, true, false)), (String ((Ascii (true,
-    false, true, false, false, true, true, false)), (String ((Ascii (false,
-    true, false, false, true, true, true, false)),
-    EmptyString))))))))))))))))))))))))))))) :: ((SRaw (String ((Ascii
-    (false, true, false, false, true, true, true, false)), (String ((Ascii
-    (true, false, true, false, false, true, true, false)), (String ((Ascii
-    (true, true, false, false, false, true, true, false)), (String ((Ascii
-    (true, true, true, true, false, true, true, false)), (String ((Ascii
-    (false, true, false, false, true, true, true, false)), (String ((Ascii
-    (false, false, true, false, false, true, true, false)), (String ((Ascii
-    (true, true, false, false, true, false, true, false)), (String ((Ascii
-    (true, false, false, true, false, true, true, false)), (String ((Ascii
-    (false, true, false, true, true, true, true, false)), (String ((Ascii
-    (true, false, true, false, false, true, true, false)),
-    EmptyString))))))))))))))))))))) :: ((SRaw (String ((Ascii (false, true,
-    false, false, false, true, true, false)), (String ((Ascii (false, false,
-    true, true, false, true, true, false)), (String ((Ascii (true, true,
-    true, true, false, true, true, false)), (String ((Ascii (true, true,
-    false, false, false, true, true, false)), (String ((Ascii (true, true,
-    false, true, false, true, true, false)), (String ((Ascii (true, false,
-    false, true, false, true, true, false)), (String ((Ascii (false, true,
-    true, true, false, true, true, false)), (String ((Ascii (true, true,
-    true, false, false, true, true, false)), (String ((Ascii (false, true,
-    true, false, false, false, true, false)), (String ((Ascii (true, false,
-    false, false, false, true, true, false)), (String ((Ascii (true, true,
-    false, false, false, true, true, false)), (String ((Ascii (false, false,
-    true, false, true, true, true, false)), (String ((Ascii (true, true,
-    true, true, false, true, true, false)), (String ((Ascii (false, true,
-    false, false, true, true, true, false)),
-    EmptyString))))))))))))))))))))))))))))) :: ((SRaw (String ((Ascii
-    (false, true, true, false, false, true, true, false)), (String ((Ascii
-    (true, true, true, true, false, true, true, false)), (String ((Ascii
-    (false, true, false, false, true, true, true, false)), (String ((Ascii
-    (true, false, true, true, false, true, true, false)), (String ((Ascii
-    (true, false, false, false, false, true, true, false)), (String ((Ascii
-    (false, false, true, false, true, true, true, false)), (String ((Ascii
-    (true, true, false, false, false, false, true, false)), (String ((Ascii
-    (true, true, true, true, false, true, true, false)), (String ((Ascii
-    (false, false, true, false, false, true, true, false)), (String ((Ascii
-    (true, false, true, false, false, true, true, false)),
-    EmptyString))))))))))))))))))))) :: ((SAlpha ((String ((Ascii (true,
-    false, false, true, false, false, true, false)), (String ((Ascii (true,
-    false, true, true, false, true, true, false)), (String ((Ascii (true,
-    false, true, true, false, true, true, false)), (String ((Ascii (true,
-    false, true, false, false, true, true, false)), (String ((Ascii (false,
-    false, true, false, false, true, true, false)), (String ((Ascii (true,
-    false, false, true, false, true, true, false)), (String ((Ascii (true,
-    false, false, false, false, true, true, false)), (String ((Ascii (false,
-    false, true, false, true, true, true, false)), (String ((Ascii (true,
-    false, true, false, false, true, true, false)), (String ((Ascii (false,
-    false, true, false, false, false, true, false)), (String ((Ascii (true,
-    false, true, false, false, true, true, false)), (String ((Ascii (true,
-    true, false, false, true, true, true, false)), (String ((Ascii (false,
-    false, true, false, true, true, true, false)), (String ((Ascii (true,
-    false, false, true, false, true, true, false)), (String ((Ascii (false,
-    true, true, true, false, true, true, false)), (String ((Ascii (true,
-    false, false, false, false, true, true, false)), (String ((Ascii (false,
-    false, true, false, true, true, true, false)), (String ((Ascii (true,
-    false, false, true, false, true, true, false)), (String ((Ascii (true,
-    true, true, true, false, true, true, false)), (String ((Ascii (false,
-    true, true, true, false, true, true, false)), (String ((Ascii (false,
-    true, true, true, false, false, true, false)), (String ((Ascii (true,
-    false, false, false, false, true, true, false)), (String ((Ascii (true,
-    false, true, true, false, true, true, false)), (String ((Ascii (true,
-    false, true, false, false, true, true, false)),
-    EmptyString)))))))))))))))))))))))))))))))))))))))))))))))), (S (S (S (S
-    (S (S (S (S (S (S (S (S (S (S (S (S (S (S (S (S (S (S (S
-    O))))))))))))))))))))))))) :: ((SAlpha ((String ((Ascii (true, false,
-    false, true, false, false, true, false)), (String ((Ascii (true, false,
-    true, true, false, true, true, false)), (String ((Ascii (true, false,
-    true, true, false, true, true, false)), (String ((Ascii (true, false,
-    true, false, false, true, true, false)), (String ((Ascii (false, false,
-    true, false, false, true, true, false)), (String ((Ascii (true, false,
-    false, true, false, true, true, false)), (String ((Ascii (true, false,
-    false, false, false, true, true, false)), (String ((Ascii (false, false,
-    true, false, true, true, true, false)), (String ((Ascii (true, false,
-    true, false, false, true, true, false)), (String ((Ascii (true, true,
-    true, true, false, false, true, false)), (String ((Ascii (false, true,
-    false, false, true, true, true, false)), (String ((Ascii (true, false,
-    false, true, false, true, true, false)), (String ((Ascii (true, true,
-    true, false, false, true, true, false)), (String ((Ascii (true, false,
-    false, true, false, true, true, false)), (String ((Ascii (false, true,
-    true, true, false, true, true, false)), (String ((Ascii (false, true,
-    true, true, false, false, true, false)), (String ((Ascii (true, false,
-    false, false, false, true, true, false)), (String ((Ascii (true, false,
-    true, true, false, true, true, false)), (String ((Ascii (true, false,
-    true, false, false, true, true, false)),
-    EmptyString)))))))))))))))))))))))))))))))))))))), (S (S (S (S (S (S (S
-    (S (S (S (S (S (S (S (S (S (S (S (S (S (S (S (S
-    O))))))))))))))))))))))))) :: ((SAlpha ((String ((Ascii (false, true,
-    false, false, true, false, true, false)), (String ((Ascii (true, false,
-    true, false, false, true, true, false)), (String ((Ascii (false, true,
-    true, false, false, true, true, false)), (String ((Ascii (true, false,
-    true, false, false, true, true, false)), (String ((Ascii (false, true,
-    false, false, true, true, true, false)), (String ((Ascii (true, false,
-    true, false, false, true, true, false)), (String ((Ascii (false, true,
-    true, true, false, true, true, false)), (String ((Ascii (true, true,
-    false, false, false, true, true, false)), (String ((Ascii (true, false,
-    true, false, false, true, true, false)), (String ((Ascii (true, true,
-    false, false, false, false, true, false)), (String ((Ascii (true, true,
-    true, true, false, true, true, false)), (String ((Ascii (false, false,
-    true, false, false, true, true, false)), (String ((Ascii (true, false,
-    true, false, false, true, true, false)),
-    EmptyString)))))))))))))))))))))))))), (S (S (S (S (S (S (S (S
-    O)))))))))) :: []))))))))))))); l_cuts =
-    ((mkconst (String ((Ascii (false, false, false, false, true, true, true,
-       false)), (String ((Ascii (false, true, false, false, true, true, true,
-       false)), (String ((Ascii (true, false, false, true, false, true, true,
-       false)), (String ((Ascii (true, true, true, true, false, true, true,
-       false)), (String ((Ascii (false, true, false, false, true, true, true,
-       false)), (String ((Ascii (true, false, false, true, false, true, true,
-       false)), (String ((Ascii (false, false, true, false, true, true, true,
-       false)), (String ((Ascii (true, false, false, true, true, true, true,
-       false)), (String ((Ascii (true, true, false, false, false, false,
-       true, false)), (String ((Ascii (true, true, true, true, false, true,
-       true, false)), (String ((Ascii (false, false, true, false, false,
-       true, true, false)), (String ((Ascii (true, false, true, false, false,
-       true, true, false)), EmptyString)))))))))))))))))))))))) ((Npos (XO
-       (XO (XO (XO (XI XH)))))) :: ((Npos (XI (XO (XO (XO (XI
-       XH)))))) :: []))) :: ((mkcut (S (S (S O))) (S (S (S (S (S (S (S (S (S
-                               (S (S (S (S O))))))))))))) (String ((Ascii
-                               (true, false, false, true, false, false, true,
-                               false)), (String ((Ascii (true, false, true,
-                               true, false, true, true, false)), (String
-                               ((Ascii (true, false, true, true, false, true,
-                               true, false)), (String ((Ascii (true, false,
-                               true, false, false, true, true, false)),
-                               (String ((Ascii (false, false, true, false,
-                               false, true, true, false)), (String ((Ascii
-                               (true, false, false, true, false, true, true,
-                               false)), (String ((Ascii (true, false, false,
-                               false, false, true, true, false)), (String
-                               ((Ascii (false, false, true, false, true,
-                               true, true, false)), (String ((Ascii (true,
-                               false, true, false, false, true, true,
-                               false)), (String ((Ascii (false, false, true,
-                               false, false, false, true, false)), (String
-                               ((Ascii (true, false, true, false, false,
-                               true, true, false)), (String ((Ascii (true,
-                               true, false, false, true, true, true, false)),
-                               (String ((Ascii (false, false, true, false,
-                               true, true, true, false)), (String ((Ascii
-                               (true, false, false, true, false, true, true,
-                               false)), (String ((Ascii (false, true, true,
-                               true, false, true, true, false)), (String
-                               ((Ascii (true, false, false, false, false,
-                               true, true, false)), (String ((Ascii (false,
-                               false, true, false, true, true, true, false)),
-                               (String ((Ascii (true, false, false, true,
-                               false, true, true, false)), (String ((Ascii
-                               (true, true, true, true, false, true, true,
-                               false)), (String ((Ascii (false, true, true,
-                               true, false, true, true, false)),
-                               EmptyString))))))))))))))))))))))))))))))))))))))))
-                               ((String ((Ascii (false, false, true, false,
-                               true, true, true, false)), (String ((Ascii
-                               (false, true, false, false, true, true, true,
-                               false)), (String ((Ascii (true, false, false,
-                               true, false, true, true, false)), (String
-                               ((Ascii (true, false, true, true, false, true,
-                               true, false)), (String ((Ascii (false, true,
-                               false, false, true, false, true, false)),
-                               (String ((Ascii (true, true, true, true,
-                               false, true, true, false)), (String ((Ascii
-                               (true, false, true, false, true, true, true,
-                               false)), (String ((Ascii (false, false, true,
-                               false, true, true, true, false)), (String
-                               ((Ascii (true, false, false, true, false,
-                               true, true, false)), (String ((Ascii (false,
-                               true, true, true, false, true, true, false)),
-                               (String ((Ascii (true, true, true, false,
-                               false, true, true, false)), (String ((Ascii
-                               (false, true, true, true, false, false, true,
-                               false)), (String ((Ascii (true, false, true,
-                               false, true, true, true, false)), (String
-                               ((Ascii (true, false, true, true, false, true,
-                               true, false)), (String ((Ascii (false, true,
-                               false, false, false, true, true, false)),
-                               (String ((Ascii (true, false, true, false,
-                               false, true, true, false)), (String ((Ascii
-                               (false, true, false, false, true, true, true,
-                               false)), (String ((Ascii (false, false, true,
-                               true, false, false, true, false)), (String
-                               ((Ascii (true, false, true, false, false,
-                               true, true, false)), (String ((Ascii (true,
-                               false, false, false, false, true, true,
-                               false)), (String ((Ascii (false, false, true,
-                               false, false, true, true, false)), (String
-                               ((Ascii (true, false, false, true, false,
-                               true, true, false)), (String ((Ascii (false,
-                               true, true, true, false, true, true, false)),
-                               (String ((Ascii (true, true, true, false,
-                               false, true, true, false)), (String ((Ascii
-                               (false, true, false, true, true, false, true,
-                               false)), (String ((Ascii (true, false, true,
-                               false, false, true, true, false)), (String
-                               ((Ascii (false, true, false, false, true,
-                               true, true, false)), (String ((Ascii (true,
-                               true, true, true, false, true, true, false)),
-                               EmptyString)))))))))))))))))))))))))))))))))))))))))))))))))))))))) :: ((String
-                               ((Ascii (false, false, false, false, true,
-                               true, true, false)), (String ((Ascii (true,
-                               false, false, false, false, true, true,
-                               false)), (String ((Ascii (false, true, false,
-                               false, true, true, true, false)), (String
-                               ((Ascii (true, true, false, false, true, true,
-                               true, false)), (String ((Ascii (true, false,
-                               true, false, false, true, true, false)),
-                               (String ((Ascii (true, true, false, false,
-                               true, false, true, false)), (String ((Ascii
-                               (false, false, true, false, true, true, true,
-                               false)), (String ((Ascii (false, true, false,
-                               false, true, true, true, false)), (String
-                               ((Ascii (true, false, false, true, false,
-                               true, true, false)), (String ((Ascii (false,
-                               true, true, true, false, true, true, false)),
-                               (String ((Ascii (true, true, true, false,
-                               false, true, true, false)), (String ((Ascii
-                               (false, true, true, false, false, false, true,
-                               false)), (String ((Ascii (true, false, false,
-                               true, false, true, true, false)), (String
-                               ((Ascii (true, false, true, false, false,
-                               true, true, false)), (String ((Ascii (false,
-                               false, true, true, false, true, true, false)),
-                               (String ((Ascii (false, false, true, false,
-                               false, true, true, false)),
-                               EmptyString)))))))))))))))))))))))))))))))) :: []))) :: (
-    (mkcut (S (S (S (S (S (S (S (S (S (S (S (S (S O))))))))))))) (S (S (S (S
-      (S (S (S (S (S (S (S (S (S (S (S (S (S (S (S (S (S (S (S
-      O))))))))))))))))))))))) (String ((Ascii (true, false, false, true,
-      false, false, true, false)), (String ((Ascii (true, false, true, true,
-      false, true, true, false)), (String ((Ascii (true, false, true, true,
-      false, true, true, false)), (String ((Ascii (true, false, true, false,
-      false, true, true, false)), (String ((Ascii (false, false, true, false,
-      false, true, true, false)), (String ((Ascii (true, false, false, true,
-      false, true, true, false)), (String ((Ascii (true, false, false, false,
-      false, true, true, false)), (String ((Ascii (false, false, true, false,
-      true, true, true, false)), (String ((Ascii (true, false, true, false,
-      false, true, true, false)), (String ((Ascii (true, true, true, true,
-      false, false, true, false)), (String ((Ascii (false, true, false,
-      false, true, true, true, false)), (String ((Ascii (true, false, false,
-      true, false, true, true, false)), (String ((Ascii (true, true, true,
-      false, false, true, true, false)), (String ((Ascii (true, false, false,
-      true, false, true, true, false)), (String ((Ascii (false, true, true,
-      true, false, true, true, false)),
-      EmptyString)))))))))))))))))))))))))))))) ((String ((Ascii (false,
-      false, true, false, true, true, true, false)), (String ((Ascii (false,
-      true, false, false, true, true, true, false)), (String ((Ascii (true,
-      false, false, true, false, true, true, false)), (String ((Ascii (true,
-      false, true, true, false, true, true, false)), (String ((Ascii (false,
-      true, false, false, true, false, true, false)), (String ((Ascii (true,
-      true, true, true, false, true, true, false)), (String ((Ascii (true,
-      false, true, false, true, true, true, false)), (String ((Ascii (false,
-      false, true, false, true, true, true, false)), (String ((Ascii (true,
-      false, false, true, false, true, true, false)), (String ((Ascii (false,
-      true, true, true, false, true, true, false)), (String ((Ascii (true,
-      true, true, false, false, true, true, false)), (String ((Ascii (false,
-      true, true, true, false, false, true, false)), (String ((Ascii (true,
-      false, true, false, true, true, true, false)), (String ((Ascii (true,
-      false, true, true, false, true, true, false)), (String ((Ascii (false,
-      true, false, false, false, true, true, false)), (String ((Ascii (true,
-      false, true, false, false, true, true, false)), (String ((Ascii (false,
-      true, false, false, true, true, true, false)), (String ((Ascii (false,
-      false, true, true, false, false, true, false)), (String ((Ascii (true,
-      false, true, false, false, true, true, false)), (String ((Ascii (true,
-      false, false, false, false, true, true, false)), (String ((Ascii
-      (false, false, true, false, false, true, true, false)), (String ((Ascii
-      (true, false, false, true, false, true, true, false)), (String ((Ascii
-      (false, true, true, true, false, true, true, false)), (String ((Ascii
-      (true, true, true, false, false, true, true, false)), (String ((Ascii
-      (false, true, false, true, true, false, true, false)), (String ((Ascii
-      (true, false, true, false, false, true, true, false)), (String ((Ascii
-      (false, true, false, false, true, true, true, false)), (String ((Ascii
-      (true, true, true, true, false, true, true, false)),
-      EmptyString)))))))))))))))))))))))))))))))))))))))))))))))))))))))) :: ((String
-      ((Ascii (false, false, false, false, true, true, true, false)), (String
-      ((Ascii (true, false, false, false, false, true, true, false)), (String
-      ((Ascii (false, true, false, false, true, true, true, false)), (String
-      ((Ascii (true, true, false, false, true, true, true, false)), (String
-      ((Ascii (true, false, true, false, false, true, true, false)), (String
-      ((Ascii (true, true, false, false, true, false, true, false)), (String
-      ((Ascii (false, false, true, false, true, true, true, false)), (String
-      ((Ascii (false, true, false, false, true, true, true, false)), (String
-      ((Ascii (true, false, false, true, false, true, true, false)), (String
-      ((Ascii (false, true, true, true, false, true, true, false)), (String
-      ((Ascii (true, true, true, false, false, true, true, false)), (String
-      ((Ascii (false, true, true, false, false, false, true, false)), (String
-      ((Ascii (true, false, false, true, false, true, true, false)), (String
-      ((Ascii (true, false, true, false, false, true, true, false)), (String
-      ((Ascii (false, false, true, true, false, true, true, false)), (String
-      ((Ascii (false, false, true, false, false, true, true, false)),
-      EmptyString)))))))))))))))))))))))))))))))) :: []))) :: ((mkcut (S (S
-                                                                 (S (S (S (S
-                                                                 (S (S (S (S
-                                                                 (S (S (S (S
-                                                                 (S (S (S (S
-                                                                 (S (S (S (S
-                                                                 (S
-                                                                 O)))))))))))))))))))))))
-                                                                 (S (S (S (S
-                                                                 (S (S (S (S
-                                                                 (S (S (S (S
-                                                                 (S (S (S (S
-                                                                 (S (S (S (S
-                                                                 (S (S (S (S
-                                                                 (S (S (S (S
-                                                                 (S
-                                                                 O)))))))))))))))))))))))))))))
-                                                                 (String
-                                                                 ((Ascii
-                                                                 (false,
-                                                                 true, true,
-                                                                 false,
-                                                                 false,
-                                                                 false, true,
-                                                                 false)),
-                                                                 (String
-                                                                 ((Ascii
-                                                                 (true,
-                                                                 false,
-                                                                 false, true,
-                                                                 false, true,
-                                                                 true,
-                                                                 false)),
-                                                                 (String
-                                                                 ((Ascii
-                                                                 (false,
-                                                                 false, true,
-                                                                 true, false,
-                                                                 true, true,
-                                                                 false)),
-                                                                 (String
-                                                                 ((Ascii
-                                                                 (true,
-                                                                 false, true,
-                                                                 false,
-                                                                 false, true,
-                                                                 true,
-                                                                 false)),
-                                                                 (String
-                                                                 ((Ascii
-                                                                 (true, true,
-                                                                 false,
-                                                                 false,
-                                                                 false,
-                                                                 false, true,
-                                                                 false)),
-                                                                 (String
-                                                                 ((Ascii
-                                                                 (false,
-                                                                 true, false,
-                                                                 false, true,
-                                                                 true, true,
-                                                                 false)),
-                                                                 (String
-                                                                 ((Ascii
-                                                                 (true,
-                                                                 false, true,
-                                                                 false,
-                                                                 false, true,
-                                                                 true,
-                                                                 false)),
-                                                                 (String
-                                                                 ((Ascii
-                                                                 (true,
-                                                                 false,
-                                                                 false,
-                                                                 false,
-                                                                 false, true,
-                                                                 true,
-                                                                 false)),
-                                                                 (String
-                                                                 ((Ascii
-                                                                 (false,
-                                                                 false, true,
-                                                                 false, true,
-                                                                 true, true,
-                                                                 false)),
-                                                                 (String
-                                                                 ((Ascii
-                                                                 (true,
-                                                                 false,
-                                                                 false, true,
-                                                                 false, true,
-                                                                 true,
-                                                                 false)),
-                                                                 (String
-                                                                 ((Ascii
-                                                                 (true, true,
-                                                                 true, true,
-                                                                 false, true,
-                                                                 true,
-                                                                 false)),
-                                                                 (String
-                                                                 ((Ascii
-                                                                 (false,
-                                                                 true, true,
-                                                                 true, false,
-                                                                 true, true,
-                                                                 false)),
-                                                                 (String
-                                                                 ((Ascii
-                                                                 (false,
-                                                                 false, true,
-                                                                 false,
-                                                                 false,
-                                                                 false, true,
-                                                                 false)),
-                                                                 (String
-                                                                 ((Ascii
-                                                                 (true,
-                                                                 false,
-                                                                 false,
-                                                                 false,
-                                                                 false, true,
-                                                                 true,
-                                                                 false)),
-                                                                 (String
-                                                                 ((Ascii
-                                                                 (false,
-                                                                 false, true,
-                                                                 false, true,
-                                                                 true, true,
-                                                                 false)),
-                                                                 (String
-                                                                 ((Ascii
-                                                                 (true,
-                                                                 false, true,
-                                                                 false,
-                                                                 false, true,
-                                                                 true,
-                                                                 false)),
-                                                                 EmptyString))))))))))))))))))))))))))))))))
-                                                                 ((String
-                                                                 ((Ascii
-                                                                 (false,
-                                                                 true, true,
-                                                                 false, true,
-                                                                 true, true,
-                                                                 false)),
-                                                                 (String
-                                                                 ((Ascii
-                                                                 (true,
-                                                                 false,
-                                                                 false,
-                                                                 false,
-                                                                 false, true,
-                                                                 true,
-                                                                 false)),
-                                                                 (String
-                                                                 ((Ascii
-                                                                 (false,
-                                                                 false, true,
-                                                                 true, false,
-                                                                 true, true,
-                                                                 false)),
-                                                                 (String
-                                                                 ((Ascii
-                                                                 (true,
-                                                                 false,
-                                                                 false, true,
-                                                                 false, true,
-                                                                 true,
-                                                                 false)),
-                                                                 (String
-                                                                 ((Ascii
-                                                                 (false,
-                                                                 false, true,
-                                                                 false,
-                                                                 false, true,
-                                                                 true,
-                                                                 false)),
-                                                                 (String
-                                                                 ((Ascii
-                                                                 (true,
-                                                                 false,
-                                                                 false,
-                                                                 false,
-                                                                 false, true,
-                                                                 true,
-                                                                 false)),
-                                                                 (String
-                                                                 ((Ascii
-                                                                 (false,
-                                                                 false, true,
-                                                                 false, true,
-                                                                 true, true,
-                                                                 false)),
-                                                                 (String
-                                                                 ((Ascii
-                                                                 (true,
-                                                                 false, true,
-                                                                 false,
-                                                                 false, true,
-                                                                 true,
-                                                                 false)),
-                                                                 (String
-                                                                 ((Ascii
-                                                                 (true, true,
-                                                                 false,
-                                                                 false, true,
-                                                                 false, true,
-                                                                 false)),
-                                                                 (String
-                                                                 ((Ascii
-                                                                 (true,
-                                                                 false,
-                                                                 false, true,
-                                                                 false, true,
-                                                                 true,
-                                                                 false)),
-                                                                 (String
-                                                                 ((Ascii
-                                                                 (true,
-                                                                 false, true,
-                                                                 true, false,
-                                                                 true, true,
-                                                                 false)),
-                                                                 (String
-                                                                 ((Ascii
-                                                                 (false,
-                                                                 false,
-                                                                 false,
-                                                                 false, true,
-                                                                 true, true,
-                                                                 false)),
-                                                                 (String
-                                                                 ((Ascii
-                                                                 (false,
-                                                                 false, true,
-                                                                 true, false,
-                                                                 true, true,
-                                                                 false)),
-                                                                 (String
-                                                                 ((Ascii
-                                                                 (true,
-                                                                 false, true,
-                                                                 false,
-                                                                 false, true,
-                                                                 true,
-                                                                 false)),
-                                                                 (String
-                                                                 ((Ascii
-                                                                 (false,
-                                                                 false, true,
-                                                                 false,
-                                                                 false,
-                                                                 false, true,
-                                                                 false)),
-                                                                 (String
-                                                                 ((Ascii
-                                                                 (true,
-                                                                 false,
-                                                                 false,
-                                                                 false,
-                                                                 false, true,
-                                                                 true,
-                                                                 false)),
-                                                                 (String
-                                                                 ((Ascii
-                                                                 (false,
-                                                                 false, true,
-                                                                 false, true,
-                                                                 true, true,
-                                                                 false)),
-                                                                 (String
-                                                                 ((Ascii
-                                                                 (true,
-                                                                 false, true,
-                                                                 false,
-                                                                 false, true,
-                                                                 true,
-                                                                 false)),
-                                                                 EmptyString)))))))))))))))))))))))))))))))))))) :: [])) :: (
-    (mkcut (S (S (S (S (S (S (S (S (S (S (S (S (S (S (S (S (S (S (S (S (S (S
-      (S (S (S (S (S (S (S O))))))))))))))))))))))))))))) (S (S (S (S (S (S
-      (S (S (S (S (S (S (S (S (S (S (S (S (S (S (S (S (S (S (S (S (S (S (S (S
-      (S (S (S O))))))))))))))))))))))))))))))))) (String ((Ascii (false,
-      true, true, false, false, false, true, false)), (String ((Ascii (true,
-      false, false, true, false, true, true, false)), (String ((Ascii (false,
-      false, true, true, false, true, true, false)), (String ((Ascii (true,
-      false, true, false, false, true, true, false)), (String ((Ascii (true,
-      true, false, false, false, false, true, false)), (String ((Ascii
-      (false, true, false, false, true, true, true, false)), (String ((Ascii
-      (true, false, true, false, false, true, true, false)), (String ((Ascii
-      (true, false, false, false, false, true, true, false)), (String ((Ascii
-      (false, false, true, false, true, true, true, false)), (String ((Ascii
-      (true, false, false, true, false, true, true, false)), (String ((Ascii
-      (true, true, true, true, false, true, true, false)), (String ((Ascii
-      (false, true, true, true, false, true, true, false)), (String ((Ascii
-      (false, false, true, false, true, false, true, false)), (String ((Ascii
-      (true, false, false, true, false, true, true, false)), (String ((Ascii
-      (true, false, true, true, false, true, true, false)), (String ((Ascii
-      (true, false, true, false, false, true, true, false)),
-      EmptyString)))))))))))))))))))))))))))))))) ((String ((Ascii (false,
-      true, true, false, true, true, true, false)), (String ((Ascii (true,
-      false, false, false, false, true, true, false)), (String ((Ascii
-      (false, false, true, true, false, true, true, false)), (String ((Ascii
-      (true, false, false, true, false, true, true, false)), (String ((Ascii
-      (false, false, true, false, false, true, true, false)), (String ((Ascii
-      (true, false, false, false, false, true, true, false)), (String ((Ascii
-      (false, false, true, false, true, true, true, false)), (String ((Ascii
-      (true, false, true, false, false, true, true, false)), (String ((Ascii
-      (true, true, false, false, true, false, true, false)), (String ((Ascii
-      (true, false, false, true, false, true, true, false)), (String ((Ascii
-      (true, false, true, true, false, true, true, false)), (String ((Ascii
-      (false, false, false, false, true, true, true, false)), (String ((Ascii
-      (false, false, true, true, false, true, true, false)), (String ((Ascii
-      (true, false, true, false, false, true, true, false)), (String ((Ascii
-      (false, false, true, false, true, false, true, false)), (String ((Ascii
-      (true, false, false, true, false, true, true, false)), (String ((Ascii
-      (true, false, true, true, false, true, true, false)), (String ((Ascii
-      (true, false, true, false, false, true, true, false)),
-      EmptyString)))))))))))))))))))))))))))))))))))) :: [])) :: ((mkcut (S
-                                                                    (S (S (S
-                                                                    (S (S (S
-                                                                    (S (S (S
-                                                                    (S (S (S
-                                                                    (S (S (S
-                                                                    (S (S (S
-                                                                    (S (S (S
-                                                                    (S (S (S
-                                                                    (S (S (S
-                                                                    (S (S (S
-                                                                    (S (S
-                                                                    O)))))))))))))))))))))))))))))))))
-                                                                    (S (S (S
-                                                                    (S (S (S
-                                                                    (S (S (S
-                                                                    (S (S (S
-                                                                    (S (S (S
-                                                                    (S (S (S
-                                                                    (S (S (S
-                                                                    (S (S (S
-                                                                    (S (S (S
-                                                                    (S (S (S
-                                                                    (S (S (S
-                                                                    (S
-                                                                    O))))))))))))))))))))))))))))))))))
-                                                                    (String
-                                                                    ((Ascii
-                                                                    (false,
-                                                                    true,
-                                                                    true,
-                                                                    false,
-                                                                    false,
-                                                                    false,
-                                                                    true,
-                                                                    false)),
-                                                                    (String
-                                                                    ((Ascii
-                                                                    (true,
-                                                                    false,
-                                                                    false,
-                                                                    true,
-                                                                    false,
-                                                                    true,
-                                                                    true,
-                                                                    false)),
-                                                                    (String
-                                                                    ((Ascii
-                                                                    (false,
-                                                                    false,
-                                                                    true,
-                                                                    true,
-                                                                    false,
-                                                                    true,
-                                                                    true,
-                                                                    false)),
-                                                                    (String
-                                                                    ((Ascii
-                                                                    (true,
-                                                                    false,
-                                                                    true,
-                                                                    false,
-                                                                    false,
-                                                                    true,
-                                                                    true,
-                                                                    false)),
-                                                                    (String
-                                                                    ((Ascii
-                                                                    (true,
-                                                                    false,
-                                                                    false,
-                                                                    true,
-                                                                    false,
-                                                                    false,
-                                                                    true,
-                                                                    false)),
-                                                                    (String
-                                                                    ((Ascii
-                                                                    (false,
-                                                                    false,
-                                                                    true,
-                                                                    false,
-                                                                    false,
-                                                                    false,
-                                                                    true,
-                                                                    false)),
-                                                                    (String
-                                                                    ((Ascii
-                                                                    (true,
-                                                                    false,
-                                                                    true,
-                                                                    true,
-                                                                    false,
-                                                                    false,
-                                                                    true,
-                                                                    false)),
-                                                                    (String
-                                                                    ((Ascii
-                                                                    (true,
-                                                                    true,
-                                                                    true,
-                                                                    true,
-                                                                    false,
-                                                                    true,
-                                                                    true,
-                                                                    false)),
-                                                                    (String
-                                                                    ((Ascii
-                                                                    (false,
-                                                                    false,
-                                                                    true,
-                                                                    false,
-                                                                    false,
-                                                                    true,
-                                                                    true,
-                                                                    false)),
-                                                                    (String
-                                                                    ((Ascii
-                                                                    (true,
-                                                                    false,
-                                                                    false,
-                                                                    true,
-                                                                    false,
-                                                                    true,
-                                                                    true,
-                                                                    false)),
-                                                                    (String
-                                                                    ((Ascii
-                                                                    (false,
-                                                                    true,
-                                                                    true,
-                                                                    false,
-                                                                    false,
-                                                                    true,
-                                                                    true,
-                                                                    false)),
-                                                                    (String
-                                                                    ((Ascii
-                                                                    (true,
-                                                                    false,
-                                                                    false,
-                                                                    true,
-                                                                    false,
-                                                                    true,
-                                                                    true,
-                                                                    false)),
-                                                                    (String
-                                                                    ((Ascii
-                                                                    (true,
-                                                                    false,
-                                                                    true,
-                                                                    false,
-                                                                    false,
-                                                                    true,
-                                                                    true,
-                                                                    false)),
-                                                                    (String
-                                                                    ((Ascii
-                                                                    (false,
-                                                                    true,
-                                                                    false,
-                                                                    false,
-                                                                    true,
-                                                                    true,
-                                                                    true,
-                                                                    false)),
-                                                                    EmptyString))))))))))))))))))))))))))))
-                                                                    []) :: (
-    (mkconst (String ((Ascii (false, true, false, false, true, true, true,
-      false)), (String ((Ascii (true, false, true, false, false, true, true,
-      false)), (String ((Ascii (true, true, false, false, false, true, true,
-      false)), (String ((Ascii (true, true, true, true, false, true, true,
-      false)), (String ((Ascii (false, true, false, false, true, true, true,
-      false)), (String ((Ascii (false, false, true, false, false, true, true,
-      false)), (String ((Ascii (true, true, false, false, true, false, true,
-      false)), (String ((Ascii (true, false, false, true, false, true, true,
-      false)), (String ((Ascii (false, true, false, true, true, true, true,
-      false)), (String ((Ascii (true, false, true, false, false, true, true,
-      false)), EmptyString)))))))))))))))))))) ((Npos (XO (XO (XO (XO (XI
-      XH)))))) :: ((Npos (XI (XO (XO (XI (XI XH)))))) :: ((Npos (XO (XO (XI
-      (XO (XI XH)))))) :: [])))) :: ((mkconst (String ((Ascii (false, true,
-                                       false, false, false, true, true,
-                                       false)), (String ((Ascii (false,
-                                       false, true, true, false, true, true,
-                                       false)), (String ((Ascii (true, true,
-                                       true, true, false, true, true,
-                                       false)), (String ((Ascii (true, true,
-                                       false, false, false, true, true,
-                                       false)), (String ((Ascii (true, true,
-                                       false, true, false, true, true,
-                                       false)), (String ((Ascii (true, false,
-                                       false, true, false, true, true,
-                                       false)), (String ((Ascii (false, true,
-                                       true, true, false, true, true,
-                                       false)), (String ((Ascii (true, true,
-                                       true, false, false, true, true,
-                                       false)), (String ((Ascii (false, true,
-                                       true, false, false, false, true,
-                                       false)), (String ((Ascii (true, false,
-                                       false, false, false, true, true,
-                                       false)), (String ((Ascii (true, true,
-                                       false, false, false, true, true,
-                                       false)), (String ((Ascii (false,
-                                       false, true, false, true, true, true,
-                                       false)), (String ((Ascii (true, true,
-                                       true, true, false, true, true,
-                                       false)), (String ((Ascii (false, true,
-                                       false, false, true, true, true,
-                                       false)),
-                                       EmptyString))))))))))))))))))))))))))))
-                                       ((Npos (XI (XO (XO (XO (XI
-                                       XH)))))) :: ((Npos (XO (XO (XO (XO (XI
-                                       XH)))))) :: []))) :: ((mkconst (String
-                                                               ((Ascii
-                                                               (false, true,
-                                                               true, false,
-                                                               false, true,
-                                                               true, false)),
-                                                               (String
-                                                               ((Ascii (true,
-                                                               true, true,
-                                                               true, false,
-                                                               true, true,
-                                                               false)),
-                                                               (String
-                                                               ((Ascii
-                                                               (false, true,
-                                                               false, false,
-                                                               true, true,
-                                                               true, false)),
-                                                               (String
-                                                               ((Ascii (true,
-                                                               false, true,
-                                                               true, false,
-                                                               true, true,
-                                                               false)),
-                                                               (String
-                                                               ((Ascii (true,
-                                                               false, false,
-                                                               false, false,
-                                                               true, true,
-                                                               false)),
-                                                               (String
-                                                               ((Ascii
-                                                               (false, false,
-                                                               true, false,
-                                                               true, true,
-                                                               true, false)),
-                                                               (String
-                                                               ((Ascii (true,
-                                                               true, false,
-                                                               false, false,
-                                                               false, true,
-                                                               false)),
-                                                               (String
-                                                               ((Ascii (true,
-                                                               true, true,
-                                                               true, false,
-                                                               true, true,
-                                                               false)),
-                                                               (String
-                                                               ((Ascii
-                                                               (false, false,
-                                                               true, false,
-                                                               false, true,
-                                                               true, false)),
-                                                               (String
-                                                               ((Ascii (true,
-                                                               false, true,
-                                                               false, false,
-                                                               true, true,
-                                                               false)),
-                                                               EmptyString))))))))))))))))))))
-                                                               ((Npos (XI (XO
-                                                               (XO (XO (XI
-                                                               XH)))))) :: [])) :: (
-    (mkcut (S (S (S (S (S (S (S (S (S (S (S (S (S (S (S (S (S (S (S (S (S (S
-      (S (S (S (S (S (S (S (S (S (S (S (S (S (S (S (S (S (S
-      O)))))))))))))))))))))))))))))))))))))))) (S (S (S (S (S (S (S (S (S (S
-      (S (S (S (S (S (S (S (S (S (S (S (S (S (S (S (S (S (S (S (S (S (S (S (S
-      (S (S (S (S (S (S (S (S (S (S (S (S (S (S (S (S (S (S (S (S (S (S (S (S
-      (S (S (S (S (S
-      O)))))))))))))))))))))))))))))))))))))))))))))))))))))))))))))))
-      (String ((Ascii (true, false, false, true, false, false, true, false)),
-      (String ((Ascii (true, false, true, true, false, true, true, false)),
-      (String ((Ascii (true, false, true, true, false, true, true, false)),
-      (String ((Ascii (true, false, true, false, false, true, true, false)),
-      (String ((Ascii (false, false, true, false, false, true, true, false)),
-      (String ((Ascii (true, false, false, true, false, true, true, false)),
-      (String ((Ascii (true, false, false, false, false, true, true, false)),
-      (String ((Ascii (false, false, true, false, true, true, true, false)),
-      (String ((Ascii (true, false, true, false, false, true, true, false)),
-      (String ((Ascii (false, false, true, false, false, false, true,
-      false)), (String ((Ascii (true, false, true, false, false, true, true,
-      false)), (String ((Ascii (true, true, false, false, true, true, true,
-      false)), (String ((Ascii (false, false, true, false, true, true, true,
-      false)), (String ((Ascii (true, false, false, true, false, true, true,
-      false)), (String ((Ascii (false, true, true, true, false, true, true,
-      false)), (String ((Ascii (true, false, false, false, false, true, true,
-      false)), (String ((Ascii (false, false, true, false, true, true, true,
-      false)), (String ((Ascii (true, false, false, true, false, true, true,
-      false)), (String ((Ascii (true, true, true, true, false, true, true,
-      false)), (String ((Ascii (false, true, true, true, false, true, true,
-      false)), (String ((Ascii (false, true, true, true, false, false, true,
-      false)), (String ((Ascii (true, false, false, false, false, true, true,
-      false)), (String ((Ascii (true, false, true, true, false, true, true,
-      false)), (String ((Ascii (true, false, true, false, false, true, true,
-      false)), EmptyString))))))))))))))))))))))))))))))))))))))))))))))))
-      ((String ((Ascii (false, false, false, false, true, true, true,
-      false)), (String ((Ascii (true, false, false, false, false, true, true,
-      false)), (String ((Ascii (false, true, false, false, true, true, true,
-      false)), (String ((Ascii (true, true, false, false, true, true, true,
-      false)), (String ((Ascii (true, false, true, false, false, true, true,
-      false)), (String ((Ascii (true, true, false, false, true, false, true,
-      false)), (String ((Ascii (false, false, true, false, true, true, true,
-      false)), (String ((Ascii (false, true, false, false, true, true, true,
-      false)), (String ((Ascii (true, false, false, true, false, true, true,
-      false)), (String ((Ascii (false, true, true, true, false, true, true,
-      false)), (String ((Ascii (true, true, true, false, false, true, true,
-      false)), (String ((Ascii (false, true, true, false, false, false, true,
-      false)), (String ((Ascii (true, false, false, true, false, true, true,
-      false)), (String ((Ascii (true, false, true, false, false, true, true,
-      false)), (String ((Ascii (false, false, true, true, false, true, true,
-      false)), (String ((Ascii (false, false, true, false, false, true, true,
-      false)), (String ((Ascii (true, true, true, false, true, false, true,
-      false)), (String ((Ascii (true, false, false, true, false, true, true,
-      false)), (String ((Ascii (false, false, true, false, true, true, true,
-      false)), (String ((Ascii (false, false, false, true, false, true, true,
-      false)), (String ((Ascii (true, true, true, true, false, false, true,
-      false)), (String ((Ascii (false, false, false, false, true, true, true,
-      false)), (String ((Ascii (false, false, true, false, true, true, true,
-      false)), (String ((Ascii (true, true, false, false, true, true, true,
-      false)),
-      EmptyString)))))))))))))))))))))))))))))))))))))))))))))))) :: [])) :: (
-    (mkcut (S (S (S (S (S (S (S (S (S (S (S (S (S (S (S (S (S (S (S (S (S (S
-      (S (S (S (S (S (S (S (S (S (S (S (S (S (S (S (S (S (S (S (S (S (S (S (S
-      (S (S (S (S (S (S (S (S (S (S (S (S (S (S (S (S (S
-      O))))))))))))))))))))))))))))))))))))))))))))))))))))))))))))))) (S (S
-      (S (S (S (S (S (S (S (S (S (S (S (S (S (S (S (S (S (S (S (S (S (S (S (S
-      (S (S (S (S (S (S (S (S (S (S (S (S (S (S (S (S (S (S (S (S (S (S (S (S
-      (S (S (S (S (S (S (S (S (S (S (S (S (S (S (S (S (S (S (S (S (S (S (S (S
-      (S (S (S (S (S (S (S (S (S (S (S (S
-      O))))))))))))))))))))))))))))))))))))))))))))))))))))))))))))))))))))))))))))))))))))))
-      (String ((Ascii (true, false, false, true, false, false, true, false)),
-      (String ((Ascii (true, false, true, true, false, true, true, false)),
-      (String ((Ascii (true, false, true, true, false, true, true, false)),
-      (String ((Ascii (true, false, true, false, false, true, true, false)),
-      (String ((Ascii (false, false, true, false, false, true, true, false)),
-      (String ((Ascii (true, false, false, true, false, true, true, false)),
-      (String ((Ascii (true, false, false, false, false, true, true, false)),
-      (String ((Ascii (false, false, true, false, true, true, true, false)),
-      (String ((Ascii (true, false, true, false, false, true, true, false)),
-      (String ((Ascii (true, true, true, true, false, false, true, false)),
-      (String ((Ascii (false, true, false, false, true, true, true, false)),
-      (String ((Ascii (true, false, false, true, false, true, true, false)),
-      (String ((Ascii (true, true, true, false, false, true, true, false)),
-      (String ((Ascii (true, false, false, true, false, true, true, false)),
-      (String ((Ascii (false, true, true, true, false, true, true, false)),
-      (String ((Ascii (false, true, true, true, false, false, true, false)),
-      (String ((Ascii (true, false, false, false, false, true, true, false)),
-      (String ((Ascii (true, false, true, true, false, true, true, false)),
-      (String ((Ascii (true, false, true, false, false, true, true, false)),
-      EmptyString)))))))))))))))))))))))))))))))))))))) ((String ((Ascii
-      (false, false, false, false, true, true, true, false)), (String ((Ascii
-      (true, false, false, false, false, true, true, false)), (String ((Ascii
-      (false, true, false, false, true, true, true, false)), (String ((Ascii
-      (true, true, false, false, true, true, true, false)), (String ((Ascii
-      (true, false, true, false, false, true, true, false)), (String ((Ascii
-      (true, true, false, false, true, false, true, false)), (String ((Ascii
-      (false, false, true, false, true, true, true, false)), (String ((Ascii
-      (false, true, false, false, true, true, true, false)), (String ((Ascii
-      (true, false, false, true, false, true, true, false)), (String ((Ascii
-      (false, true, true, true, false, true, true, false)), (String ((Ascii
-      (true, true, true, false, false, true, true, false)), (String ((Ascii
-      (false, true, true, false, false, false, true, false)), (String ((Ascii
-      (true, false, false, true, false, true, true, false)), (String ((Ascii
-      (true, false, true, false, false, true, true, false)), (String ((Ascii
-      (false, false, true, true, false, true, true, false)), (String ((Ascii
-      (false, false, true, false, false, true, true, false)), (String ((Ascii
-      (true, true, true, false, true, false, true, false)), (String ((Ascii
-      (true, false, false, true, false, true, true, false)), (String ((Ascii
-      (false, false, true, false, true, true, true, false)), (String ((Ascii
-      (false, false, false, true, false, true, true, false)), (String ((Ascii
-      (true, true, true, true, false, false, true, false)), (String ((Ascii
-      (false, false, false, false, true, true, true, false)), (String ((Ascii
-      (false, false, true, false, true, true, true, false)), (String ((Ascii
-      (true, true, false, false, true, true, true, false)),
-      EmptyString)))))))))))))))))))))))))))))))))))))))))))))))) :: [])) :: (
-    (mkcut (S (S (S (S (S (S (S (S (S (S (S (S (S (S (S (S (S (S (S (S (S (S
-      (S (S (S (S (S (S (S (S (S (S (S (S (S (S (S (S (S (S (S (S (S (S (S (S
-      (S (S (S (S (S (S (S (S (S (S (S (S (S (S (S (S (S (S (S (S (S (S (S (S
-      (S (S (S (S (S (S (S (S (S (S (S (S (S (S (S (S
-      O))))))))))))))))))))))))))))))))))))))))))))))))))))))))))))))))))))))))))))))))))))))
-      (S (S (S (S (S (S (S (S (S (S (S (S (S (S (S (S (S (S (S (S (S (S (S (S
-      (S (S (S (S (S (S (S (S (S (S (S (S (S (S (S (S (S (S (S (S (S (S (S (S
-      (S (S (S (S (S (S (S (S (S (S (S (S (S (S (S (S (S (S (S (S (S (S (S (S
-      (S (S (S (S (S (S (S (S (S (S (S (S (S (S (S (S (S (S (S (S (S (S
-      O))))))))))))))))))))))))))))))))))))))))))))))))))))))))))))))))))))))))))))))))))))))))))))))
-      (String ((Ascii (false, true, false, false, true, false, true, false)),
-      (String ((Ascii (true, false, true, false, false, true, true, false)),
-      (String ((Ascii (false, true, true, false, false, true, true, false)),
-      (String ((Ascii (true, false, true, false, false, true, true, false)),
-      (String ((Ascii (false, true, false, false, true, true, true, false)),
-      (String ((Ascii (true, false, true, false, false, true, true, false)),
-      (String ((Ascii (false, true, true, true, false, true, true, false)),
-      (String ((Ascii (true, true, false, false, false, true, true, false)),
-      (String ((Ascii (true, false, true, false, false, true, true, false)),
-      (String ((Ascii (true, true, false, false, false, false, true, false)),
-      (String ((Ascii (true, true, true, true, false, true, true, false)),
-      (String ((Ascii (false, false, true, false, false, true, true, false)),
-      (String ((Ascii (true, false, true, false, false, true, true, false)),
-      EmptyString)))))))))))))))))))))))))) ((String ((Ascii (false, false,
-      false, false, true, true, true, false)), (String ((Ascii (true, false,
-      false, false, false, true, true, false)), (String ((Ascii (false, true,
-      false, false, true, true, true, false)), (String ((Ascii (true, true,
-      false, false, true, true, true, false)), (String ((Ascii (true, false,
-      true, false, false, true, true, false)), (String ((Ascii (true, true,
-      false, false, true, false, true, false)), (String ((Ascii (false,
-      false, true, false, true, true, true, false)), (String ((Ascii (false,
-      true, false, false, true, true, true, false)), (String ((Ascii (true,
-      false, false, true, false, true, true, false)), (String ((Ascii (false,
-      true, true, true, false, true, true, false)), (String ((Ascii (true,
-      true, true, false, false, true, true, false)), (String ((Ascii (false,
-      true, true, false, false, false, true, false)), (String ((Ascii (true,
-      false, false, true, false, true, true, false)), (String ((Ascii (true,
-      false, true, false, false, true, true, false)), (String ((Ascii (false,
-      false, true, true, false, true, true, false)), (String ((Ascii (false,
-      false, true, false, false, true, true, false)), (String ((Ascii (true,
-      true, true, false, true, false, true, false)), (String ((Ascii (true,
-      false, false, true, false, true, true, false)), (String ((Ascii (false,
-      false, true, false, true, true, true, false)), (String ((Ascii (false,
-      false, false, true, false, true, true, false)), (String ((Ascii (true,
-      true, true, true, false, false, true, false)), (String ((Ascii (false,
-      false, false, false, true, true, true, false)), (String ((Ascii (false,
-      false, true, false, true, true, true, false)), (String ((Ascii (true,
-      true, false, false, true, true, true, false)),
-      EmptyString)))))))))))))))))))))))))))))))))))))))))))))))) :: [])) :: [])))))))))))) }
+let current_wpolicy =
+  { p_wl_line = Propagate; p_wl_le = Propagate; p_wl_flush = Propagate;
+    p_thresh = (Npos (XO (XI (XI (XI (XI (XO XH))))))); p_api_flush =
+    Propagate; p_hdr = Propagate; p_body = Propagate; p_ctl = Propagate;
+    p_pad_line = Propagate; p_pad_le = Propagate; p_final = Propagate }
 
-(** val l_IATBatchHeader : layout **)
+(** val current_rpolicy : rpolicy **)
 
-let l_IATBatchHeader =
-  { l_name = (String ((Ascii (true, false, false, true, false, false, true,
-    false)), (String ((Ascii (true, false, false, false, false, false, true,
-    false)), (String ((Ascii (false, false, true, false, true, false, true,
-    false)), (String ((Ascii (false, true, false, false, false, false, true,
-    false)), (String ((Ascii (true, false, false, false, false, true, true,
-    false)), (String ((Ascii (false, false, true, false, true, true, true,
-    false)), (String ((Ascii (true, true, false, false, false, true, true,
-    false)), (String ((Ascii (false, false, false, true, false, true, true,
-    false)), (String ((Ascii (false, false, false, true, false, false, true,
-    false)), (String ((Ascii (true, false, true, false, false, true, true,
-    false)), (String ((Ascii (true, false, false, false, false, true, true,
-    false)), (String ((Ascii (false, false, true, false, false, true, true,
-    false)), (String ((Ascii (true, false, true, false, false, true, true,
-    false)), (String ((Ascii (false, true, false, false, true, true, true,
-    false)), EmptyString)))))))))))))))))))))))))))); l_ix = IRune; l_segs =
-    ((SLit ((Npos (XI (XO (XI (XO (XI XH)))))) :: [])) :: ((SItoa (String
-    ((Ascii (true, true, false, false, true, false, true, false)), (String
-    ((Ascii (true, false, true, false, false, true, true, false)), (String
-    ((Ascii (false, true, false, false, true, true, true, false)), (String
-    ((Ascii (false, true, true, false, true, true, true, false)), (String
-    ((Ascii (true, false, false, true, false, true, true, false)), (String
-    ((Ascii (true, true, false, false, false, true, true, false)), (String
-    ((Ascii (true, false, true, false, false, true, true, false)), (String
-    ((Ascii (true, true, false, false, false, false, true, false)), (String
-    ((Ascii (false, false, true, true, false, true, true, false)), (String
-    ((Ascii (true, false, false, false, false, true, true, false)), (String
-    ((Ascii (true, true, false, false, true, true, true, false)), (String
-    ((Ascii (true, true, false, false, true, true, true, false)), (String
-    ((Ascii (true, true, false, false, false, false, true, false)), (String
-    ((Ascii (true, true, true, true, false, true, true, false)), (String
-    ((Ascii (false, false, true, false, false, true, true, false)), (String
-    ((Ascii (true, false, true, false, false, true, true, false)),
-    EmptyString))))))))))))))))))))))))))))))))) :: ((SAlpha ((String ((Ascii
-    (true, false, false, true, false, false, true, false)), (String ((Ascii
-    (true, false, false, false, false, false, true, false)), (String ((Ascii
-    (false, false, true, false, true, false, true, false)), (String ((Ascii
-    (true, false, false, true, false, false, true, false)), (String ((Ascii
-    (false, true, true, true, false, true, true, false)), (String ((Ascii
-    (false, false, true, false, false, true, true, false)), (String ((Ascii
-    (true, false, false, true, false, true, true, false)), (String ((Ascii
-    (true, true, false, false, false, true, true, false)), (String ((Ascii
-    (true, false, false, false, false, true, true, false)), (String ((Ascii
-    (false, false, true, false, true, true, true, false)), (String ((Ascii
-    (true, true, true, true, false, true, true, false)), (String ((Ascii
-    (false, true, false, false, true, true, true, false)),
-    EmptyString)))))))))))))))))))))))), (S (S (S (S (S (S (S (S (S (S (S (S
-    (S (S (S (S O)))))))))))))))))) :: ((SAlpha ((String ((Ascii (false,
-    true, true, false, false, false, true, false)), (String ((Ascii (true,
-    true, true, true, false, true, true, false)), (String ((Ascii (false,
-    true, false, false, true, true, true, false)), (String ((Ascii (true,
-    false, true, false, false, true, true, false)), (String ((Ascii (true,
-    false, false, true, false, true, true, false)), (String ((Ascii (true,
-    true, true, false, false, true, true, false)), (String ((Ascii (false,
-    true, true, true, false, true, true, false)), (String ((Ascii (true,
-    false, true, false, false, false, true, false)), (String ((Ascii (false,
-    false, false, true, true, true, true, false)), (String ((Ascii (true,
-    true, false, false, false, true, true, false)), (String ((Ascii (false,
-    false, false, true, false, true, true, false)), (String ((Ascii (true,
-    false, false, false, false, true, true, false)), (String ((Ascii (false,
-    true, true, true, false, true, true, false)), (String ((Ascii (true,
-    true, true, false, false, true, true, false)), (String ((Ascii (true,
-    false, true, false, false, true, true, false)), (String ((Ascii (true,
-    false, false, true, false, false, true, false)), (String ((Ascii (false,
-    true, true, true, false, true, true, false)), (String ((Ascii (false,
-    false, true, false, false, true, true, false)), (String ((Ascii (true,
-    false, false, true, false, true, true, false)), (String ((Ascii (true,
-    true, false, false, false, true, true, false)), (String ((Ascii (true,
-    false, false, false, false, true, true, false)), (String ((Ascii (false,
-    false, true, false, true, true, true, false)), (String ((Ascii (true,
-    true, true, true, false, true, true, false)), (String ((Ascii (false,
-    true, false, false, true, true, true, false)),
-    EmptyString)))))))))))))))))))))))))))))))))))))))))))))))), (S (S
-    O)))) :: ((SNum ((String ((Ascii (false, true, true, false, false, false,
-    true, false)), (String ((Ascii (true, true, true, true, false, true,
-    true, false)), (String ((Ascii (false, true, false, false, true, true,
-    true, false)), (String ((Ascii (true, false, true, false, false, true,
-    true, false)), (String ((Ascii (true, false, false, true, false, true,
-    true, false)), (String ((Ascii (true, true, true, false, false, true,
-    true, false)), (String ((Ascii (false, true, true, true, false, true,
-    true, false)), (String ((Ascii (true, false, true, false, false, false,
-    true, false)), (String ((Ascii (false, false, false, true, true, true,
-    true, false)), (String ((Ascii (true, true, false, false, false, true,
-    true, false)), (String ((Ascii (false, false, false, true, false, true,
-    true, false)), (String ((Ascii (true, false, false, false, false, true,
-    true, false)), (String ((Ascii (false, true, true, true, false, true,
-    true, false)), (String ((Ascii (true, true, true, false, false, true,
-    true, false)), (String ((Ascii (true, false, true, false, false, true,
-    true, false)), (String ((Ascii (false, true, false, false, true, false,
-    true, false)), (String ((Ascii (true, false, true, false, false, true,
-    true, false)), (String ((Ascii (false, true, true, false, false, true,
-    true, false)), (String ((Ascii (true, false, true, false, false, true,
-    true, false)), (String ((Ascii (false, true, false, false, true, true,
-    true, false)), (String ((Ascii (true, false, true, false, false, true,
-    true, false)), (String ((Ascii (false, true, true, true, false, true,
-    true, false)), (String ((Ascii (true, true, false, false, false, true,
-    true, false)), (String ((Ascii (true, false, true, false, false, true,
-    true, false)), (String ((Ascii (true, false, false, true, false, false,
-    true, false)), (String ((Ascii (false, true, true, true, false, true,
-    true, false)), (String ((Ascii (false, false, true, false, false, true,
-    true, false)), (String ((Ascii (true, false, false, true, false, true,
-    true, false)), (String ((Ascii (true, true, false, false, false, true,
-    true, false)), (String ((Ascii (true, false, false, false, false, true,
-    true, false)), (String ((Ascii (false, false, true, false, true, true,
-    true, false)), (String ((Ascii (true, true, true, true, false, true,
-    true, false)), (String ((Ascii (false, true, false, false, true, true,
-    true, false)),
-    EmptyString)))))))))))))))))))))))))))))))))))))))))))))))))))))))))))))))))),
-    (S O))) :: ((SCustom ((String ((Ascii (true, false, false, true, false,
-    false, true, false)), (String ((Ascii (true, false, false, false, false,
-    false, true, false)), (String ((Ascii (false, false, true, false, true,
-    false, true, false)), (String ((Ascii (false, true, false, false, false,
-    false, true, false)), (String ((Ascii (true, false, false, false, false,
-    true, true, false)), (String ((Ascii (false, false, true, false, true,
-    true, true, false)), (String ((Ascii (true, true, false, false, false,
-    true, true, false)), (String ((Ascii (false, false, false, true, false,
-    true, true, false)), (String ((Ascii (false, false, false, true, false,
-    false, true, false)), (String ((Ascii (true, false, true, false, false,
-    true, true, false)), (String ((Ascii (true, false, false, false, false,
-    true, true, false)), (String ((Ascii (false, false, true, false, false,
-    true, true, false)), (String ((Ascii (true, false, true, false, false,
-    true, true, false)), (String ((Ascii (false, true, false, false, true,
-    true, true, false)), (String ((Ascii (false, true, true, true, false,
-    true, false, false)), (String ((Ascii (false, true, true, false, false,
-    false, true, false)), (String ((Ascii (true, true, true, true, false,
-    true, true, false)), (String ((Ascii (false, true, false, false, true,
-    true, true, false)), (String ((Ascii (true, false, true, false, false,
-    true, true, false)), (String ((Ascii (true, false, false, true, false,
-    true, true, false)), (String ((Ascii (true, true, true, false, false,
-    true, true, false)), (String ((Ascii (false, true, true, true, false,
-    true, true, false)), (String ((Ascii (true, false, true, false, false,
-    false, true, false)), (String ((Ascii (false, false, false, true, true,
-    true, true, false)), (String ((Ascii (true, true, false, false, false,
-    true, true, false)), (String ((Ascii (false, false, false, true, false,
-    true, true, false)), (String ((Ascii (true, false, false, false, false,
-    true, true, false)), (String ((Ascii (false, true, true, true, false,
-    true, true, false)), (String ((Ascii (true, true, true, false, false,
-    true, true, false)), (String ((Ascii (true, false, true, false, false,
-    true, true, false)), (String ((Ascii (false, true, false, false, true,
-    false, true, false)), (String ((Ascii (true, false, true, false, false,
-    true, true, false)), (String ((Ascii (false, true, true, false, false,
-    true, true, false)), (String ((Ascii (true, false, true, false, false,
-    true, true, false)), (String ((Ascii (false, true, false, false, true,
-    true, true, false)), (String ((Ascii (true, false, true, false, false,
-    true, true, false)), (String ((Ascii (false, true, true, true, false,
-    true, true, false)), (String ((Ascii (true, true, false, false, false,
-    true, true, false)), (String ((Ascii (true, false, true, false, false,
-    true, true, false)), (String ((Ascii (false, true, true, false, false,
-    false, true, false)), (String ((Ascii (true, false, false, true, false,
-    true, true, false)), (String ((Ascii (true, false, true, false, false,
-    true, true, false)), (String ((Ascii (false, false, true, true, false,
-    true, true, false)), (String ((Ascii (false, false, true, false, false,
-    true, true, false)),
-    EmptyString)))))))))))))))))))))))))))))))))))))))))))))))))))))))))))))))))))))))))))))))))))))))),
-    (String ((Ascii (true, true, false, false, false, true, true, false)),
-    (String ((Ascii (false, false, true, false, false, true, true, false)),
-    (String ((Ascii (false, false, false, true, true, true, false, false)),
-    (String ((Ascii (false, false, false, true, true, true, false, false)),
-    (String ((Ascii (true, false, false, false, false, true, true, false)),
-    (String ((Ascii (false, false, false, false, true, true, false, false)),
-    (String ((Ascii (false, false, true, false, false, true, true, false)),
-    (String ((Ascii (true, true, true, false, true, true, false, false)),
-    (String ((Ascii (true, false, true, false, true, true, false, false)),
-    (String ((Ascii (true, false, false, false, false, true, true, false)),
-    (String ((Ascii (false, true, true, false, false, true, true, false)),
-    (String ((Ascii (true, false, false, true, true, true, false, false)),
-    EmptyString)))))))))))))))))))))))))) :: ((SAlpha ((String ((Ascii (true,
-    false, false, true, false, false, true, false)), (String ((Ascii (true,
-    true, false, false, true, false, true, false)), (String ((Ascii (true,
-    true, true, true, false, false, true, false)), (String ((Ascii (false,
-    false, true, false, false, false, true, false)), (String ((Ascii (true,
-    false, true, false, false, true, true, false)), (String ((Ascii (true,
-    true, false, false, true, true, true, false)), (String ((Ascii (false,
-    false, true, false, true, true, true, false)), (String ((Ascii (true,
-    false, false, true, false, true, true, false)), (String ((Ascii (false,
-    true, true, true, false, true, true, false)), (String ((Ascii (true,
-    false, false, false, false, true, true, false)), (String ((Ascii (false,
-    false, true, false, true, true, true, false)), (String ((Ascii (true,
-    false, false, true, false, true, true, false)), (String ((Ascii (true,
-    true, true, true, false, true, true, false)), (String ((Ascii (false,
-    true, true, true, false, true, true, false)), (String ((Ascii (true,
-    true, false, false, false, false, true, false)), (String ((Ascii (true,
-    true, true, true, false, true, true, false)), (String ((Ascii (true,
-    false, true, false, true, true, true, false)), (String ((Ascii (false,
-    true, true, true, false, true, true, false)), (String ((Ascii (false,
-    false, true, false, true, true, true, false)), (String ((Ascii (false,
-    true, false, false, true, true, true, false)), (String ((Ascii (true,
-    false, false, true, true, true, true, false)), (String ((Ascii (true,
-    true, false, false, false, false, true, false)), (String ((Ascii (true,
-    true, true, true, false, true, true, false)), (String ((Ascii (false,
-    false, true, false, false, true, true, false)), (String ((Ascii (true,
-    false, true, false, false, true, true, false)),
-    EmptyString)))))))))))))))))))))))))))))))))))))))))))))))))), (S (S
-    O)))) :: ((SAlpha ((String ((Ascii (true, true, true, true, false, false,
-    true, false)), (String ((Ascii (false, true, false, false, true, true,
-    true, false)), (String ((Ascii (true, false, false, true, false, true,
-    true, false)), (String ((Ascii (true, true, true, false, false, true,
-    true, false)), (String ((Ascii (true, false, false, true, false, true,
-    true, false)), (String ((Ascii (false, true, true, true, false, true,
-    true, false)), (String ((Ascii (true, false, false, false, false, true,
-    true, false)), (String ((Ascii (false, false, true, false, true, true,
-    true, false)), (String ((Ascii (true, true, true, true, false, true,
-    true, false)), (String ((Ascii (false, true, false, false, true, true,
-    true, false)), (String ((Ascii (true, false, false, true, false, false,
-    true, false)), (String ((Ascii (false, false, true, false, false, true,
-    true, false)), (String ((Ascii (true, false, true, false, false, true,
-    true, false)), (String ((Ascii (false, true, true, true, false, true,
-    true, false)), (String ((Ascii (false, false, true, false, true, true,
-    true, false)), (String ((Ascii (true, false, false, true, false, true,
-    true, false)), (String ((Ascii (false, true, true, false, false, true,
-    true, false)), (String ((Ascii (true, false, false, true, false, true,
-    true, false)), (String ((Ascii (true, true, false, false, false, true,
-    true, false)), (String ((Ascii (true, false, false, false, false, true,
-    true, false)), (String ((Ascii (false, false, true, false, true, true,
-    true, false)), (String ((Ascii (true, false, false, true, false, true,
-    true, false)), (String ((Ascii (true, true, true, true, false, true,
-    true, false)), (String ((Ascii (false, true, true, true, false, true,
-    true, false)),
-    EmptyString)))))))))))))))))))))))))))))))))))))))))))))))), (S (S (S (S
-    (S (S (S (S (S (S O)))))))))))) :: ((SRaw (String ((Ascii (true, true,
-    false, false, true, false, true, false)), (String ((Ascii (false, false,
-    true, false, true, true, true, false)), (String ((Ascii (true, false,
-    false, false, false, true, true, false)), (String ((Ascii (false, true,
-    true, true, false, true, true, false)), (String ((Ascii (false, false,
-    true, false, false, true, true, false)), (String ((Ascii (true, false,
-    false, false, false, true, true, false)), (String ((Ascii (false, true,
-    false, false, true, true, true, false)), (String ((Ascii (false, false,
-    true, false, false, true, true, false)), (String ((Ascii (true, false,
-    true, false, false, false, true, false)), (String ((Ascii (false, true,
-    true, true, false, true, true, false)), (String ((Ascii (false, false,
-    true, false, true, true, true, false)), (String ((Ascii (false, true,
-    false, false, true, true, true, false)), (String ((Ascii (true, false,
-    false, true, true, true, true, false)), (String ((Ascii (true, true,
-    false, false, false, false, true, false)), (String ((Ascii (false, false,
-    true, true, false, true, true, false)), (String ((Ascii (true, false,
-    false, false, false, true, true, false)), (String ((Ascii (true, true,
-    false, false, true, true, true, false)), (String ((Ascii (true, true,
-    false, false, true, true, true, false)), (String ((Ascii (true, true,
-    false, false, false, false, true, false)), (String ((Ascii (true, true,
-    true, true, false, true, true, false)), (String ((Ascii (false, false,
-    true, false, false, true, true, false)), (String ((Ascii (true, false,
-    true, false, false, true, true, false)),
-    EmptyString))))))))))))))))))))))))))))))))))))))))))))) :: ((SAlpha
-    ((String ((Ascii (true, true, false, false, false, false, true, false)),
-    (String ((Ascii (true, true, true, true, false, true, true, false)),
-    (String ((Ascii (true, false, true, true, false, true, true, false)),
-    (String ((Ascii (false, false, false, false, true, true, true, false)),
-    (String ((Ascii (true, false, false, false, false, true, true, false)),
-    (String ((Ascii (false, true, true, true, false, true, true, false)),
-    (String ((Ascii (true, false, false, true, true, true, true, false)),
-    (String ((Ascii (true, false, true, false, false, false, true, false)),
-    (String ((Ascii (false, true, true, true, false, true, true, false)),
-    (String ((Ascii (false, false, true, false, true, true, true, false)),
-    (String ((Ascii (false, true, false, false, true, true, true, false)),
-    (String ((Ascii (true, false, false, true, true, true, true, false)),
-    (String ((Ascii (false, false, true, false, false, false, true, false)),
-    (String ((Ascii (true, false, true, false, false, true, true, false)),
-    (String ((Ascii (true, true, false, false, true, true, true, false)),
-    (String ((Ascii (true, true, false, false, false, true, true, false)),
-    (String ((Ascii (false, true, false, false, true, true, true, false)),
-    (String ((Ascii (true, false, false, true, false, true, true, false)),
-    (String ((Ascii (false, false, false, false, true, true, true, false)),
-    (String ((Ascii (false, false, true, false, true, true, true, false)),
-    (String ((Ascii (true, false, false, true, false, true, true, false)),
-    (String ((Ascii (true, true, true, true, false, true, true, false)),
-    (String ((Ascii (false, true, true, true, false, true, true, false)),
-    EmptyString)))))))))))))))))))))))))))))))))))))))))))))), (S (S (S (S (S
-    (S (S (S (S (S O)))))))))))) :: ((SAlpha ((String ((Ascii (true, false,
-    false, true, false, false, true, false)), (String ((Ascii (true, true,
-    false, false, true, false, true, false)), (String ((Ascii (true, true,
-    true, true, false, false, true, false)), (String ((Ascii (true, true,
-    true, true, false, false, true, false)), (String ((Ascii (false, true,
-    false, false, true, true, true, false)), (String ((Ascii (true, false,
-    false, true, false, true, true, false)), (String ((Ascii (true, true,
-    true, false, false, true, true, false)), (String ((Ascii (true, false,
-    false, true, false, true, true, false)), (String ((Ascii (false, true,
-    true, true, false, true, true, false)), (String ((Ascii (true, false,
-    false, false, false, true, true, false)), (String ((Ascii (false, false,
-    true, false, true, true, true, false)), (String ((Ascii (true, false,
-    false, true, false, true, true, false)), (String ((Ascii (false, true,
-    true, true, false, true, true, false)), (String ((Ascii (true, true,
-    true, false, false, true, true, false)), (String ((Ascii (true, true,
-    false, false, false, false, true, false)), (String ((Ascii (true, false,
-    true, false, true, true, true, false)), (String ((Ascii (false, true,
-    false, false, true, true, true, false)), (String ((Ascii (false, true,
-    false, false, true, true, true, false)), (String ((Ascii (true, false,
-    true, false, false, true, true, false)), (String ((Ascii (false, true,
-    true, true, false, true, true, false)), (String ((Ascii (true, true,
-    false, false, false, true, true, false)), (String ((Ascii (true, false,
-    false, true, true, true, true, false)), (String ((Ascii (true, true,
-    false, false, false, false, true, false)), (String ((Ascii (true, true,
-    true, true, false, true, true, false)), (String ((Ascii (false, false,
-    true, false, false, true, true, false)), (String ((Ascii (true, false,
-    true, false, false, true, true, false)),
-    EmptyString)))))))))))))))))))))))))))))))))))))))))))))))))))), (S (S (S
-    O))))) :: ((SAlpha ((String ((Ascii (true, false, false, true, false,
-    false, true, false)), (String ((Ascii (true, true, false, false, true,
-    false, true, false)), (String ((Ascii (true, true, true, true, false,
-    false, true, false)), (String ((Ascii (false, false, true, false, false,
-    false, true, false)), (String ((Ascii (true, false, true, false, false,
-    true, true, false)), (String ((Ascii (true, true, false, false, true,
-    true, true, false)), (String ((Ascii (false, false, true, false, true,
-    true, true, false)), (String ((Ascii (true, false, false, true, false,
-    true, true, false)), (String ((Ascii (false, true, true, true, false,
-    true, true, false)), (String ((Ascii (true, false, false, false, false,
-    true, true, false)), (String ((Ascii (false, false, true, false, true,
-    true, true, false)), (String ((Ascii (true, false, false, true, false,
-    true, true, false)), (String ((Ascii (true, true, true, true, false,
-    true, true, false)), (String ((Ascii (false, true, true, true, false,
-    true, true, false)), (String ((Ascii (true, true, false, false, false,
-    false, true, false)), (String ((Ascii (true, false, true, false, true,
-    true, true, false)), (String ((Ascii (false, true, false, false, true,
-    true, true, false)), (String ((Ascii (false, true, false, false, true,
-    true, true, false)), (String ((Ascii (true, false, true, false, false,
-    true, true, false)), (String ((Ascii (false, true, true, true, false,
-    true, true, false)), (String ((Ascii (true, true, false, false, false,
-    true, true, false)), (String ((Ascii (true, false, false, true, true,
-    true, true, false)), (String ((Ascii (true, true, false, false, false,
-    false, true, false)), (String ((Ascii (true, true, true, true, false,
-    true, true, false)), (String ((Ascii (false, false, true, false, false,
-    true, true, false)), (String ((Ascii (true, false, true, false, false,
-    true, true, false)),
-    EmptyString)))))))))))))))))))))))))))))))))))))))))))))))))))), (S (S (S
-    O))))) :: ((SStr ((String ((Ascii (true, false, true, false, false,
-    false, true, false)), (String ((Ascii (false, true, true, false, false,
-    true, true, false)), (String ((Ascii (false, true, true, false, false,
-    true, true, false)), (String ((Ascii (true, false, true, false, false,
-    true, true, false)), (String ((Ascii (true, true, false, false, false,
-    true, true, false)), (String ((Ascii (false, false, true, false, true,
-    true, true, false)), (String ((Ascii (true, false, false, true, false,
-    true, true, false)), (String ((Ascii (false, true, true, false, true,
-    true, true, false)), (String ((Ascii (true, false, true, false, false,
-    true, true, false)), (String ((Ascii (true, false, true, false, false,
-    false, true, false)), (String ((Ascii (false, true, true, true, false,
-    true, true, false)), (String ((Ascii (false, false, true, false, true,
-    true, true, false)), (String ((Ascii (false, true, false, false, true,
-    true, true, false)), (String ((Ascii (true, false, false, true, true,
-    true, true, false)), (String ((Ascii (false, false, true, false, false,
-    false, true, false)), (String ((Ascii (true, false, false, false, false,
-    true, true, false)), (String ((Ascii (false, false, true, false, true,
-    true, true, false)), (String ((Ascii (true, false, true, false, false,
-    true, true, false)), EmptyString)))))))))))))))))))))))))))))))))))), (S
-    (S (S (S (S (S O)))))))) :: ((SAlpha ((String ((Ascii (true, true, false,
-    false, true, false, true, false)), (String ((Ascii (true, false, true,
-    false, false, true, true, false)), (String ((Ascii (false, false, true,
-    false, true, true, true, false)), (String ((Ascii (false, false, true,
-    false, true, true, true, false)), (String ((Ascii (false, false, true,
-    true, false, true, true, false)), (String ((Ascii (true, false, true,
-    false, false, true, true, false)), (String ((Ascii (true, false, true,
-    true, false, true, true, false)), (String ((Ascii (true, false, true,
-    false, false, true, true, false)), (String ((Ascii (false, true, true,
-    true, false, true, true, false)), (String ((Ascii (false, false, true,
-    false, true, true, true, false)), (String ((Ascii (false, false, true,
-    false, false, false, true, false)), (String ((Ascii (true, false, false,
-    false, false, true, true, false)), (String ((Ascii (false, false, true,
-    false, true, true, true, false)), (String ((Ascii (true, false, true,
-    false, false, true, true, false)),
-    EmptyString)))))))))))))))))))))))))))), (S (S (S O))))) :: ((SItoa
-    (String ((Ascii (true, true, true, true, false, false, true, false)),
-    (String ((Ascii (false, true, false, false, true, true, true, false)),
-    (String ((Ascii (true, false, false, true, false, true, true, false)),
-    (String ((Ascii (true, true, true, false, false, true, true, false)),
-    (String ((Ascii (true, false, false, true, false, true, true, false)),
-    (String ((Ascii (false, true, true, true, false, true, true, false)),
-    (String ((Ascii (true, false, false, false, false, true, true, false)),
-    (String ((Ascii (false, false, true, false, true, true, true, false)),
-    (String ((Ascii (true, true, true, true, false, true, true, false)),
-    (String ((Ascii (false, true, false, false, true, true, true, false)),
-    (String ((Ascii (true, true, false, false, true, false, true, false)),
-    (String ((Ascii (false, false, true, false, true, true, true, false)),
-    (String ((Ascii (true, false, false, false, false, true, true, false)),
-    (String ((Ascii (false, false, true, false, true, true, true, false)),
-    (String ((Ascii (true, false, true, false, true, true, true, false)),
-    (String ((Ascii (true, true, false, false, true, true, true, false)),
-    (String ((Ascii (true, true, false, false, false, false, true, false)),
-    (String ((Ascii (true, true, true, true, false, true, true, false)),
-    (String ((Ascii (false, false, true, false, false, true, true, false)),
-    (String ((Ascii (true, false, true, false, false, true, true, false)),
-    EmptyString))))))))))))))))))))))))))))))))))))))))) :: ((SStr ((String
-    ((Ascii (true, true, true, true, false, false, true, false)), (String
-    ((Ascii (false, false, true, false, false, false, true, false)), (String
-    ((Ascii (false, true, true, false, false, false, true, false)), (String
-    ((Ascii (true, false, false, true, false, false, true, false)), (String
-    ((Ascii (true, false, false, true, false, false, true, false)), (String
-    ((Ascii (false, false, true, false, false, true, true, false)), (String
-    ((Ascii (true, false, true, false, false, true, true, false)), (String
-    ((Ascii (false, true, true, true, false, true, true, false)), (String
-    ((Ascii (false, false, true, false, true, true, true, false)), (String
-    ((Ascii (true, false, false, true, false, true, true, false)), (String
-    ((Ascii (false, true, true, false, false, true, true, false)), (String
-    ((Ascii (true, false, false, true, false, true, true, false)), (String
-    ((Ascii (true, true, false, false, false, true, true, false)), (String
-    ((Ascii (true, false, false, false, false, true, true, false)), (String
-    ((Ascii (false, false, true, false, true, true, true, false)), (String
-    ((Ascii (true, false, false, true, false, true, true, false)), (String
-    ((Ascii (true, true, true, true, false, true, true, false)), (String
-    ((Ascii (false, true, true, true, false, true, true, false)),
-    EmptyString)))))))))))))))))))))))))))))))))))), (S (S (S (S (S (S (S (S
-    O)))))))))) :: ((SNum ((String ((Ascii (false, true, false, false, false,
-    false, true, false)), (String ((Ascii (true, false, false, false, false,
-    true, true, false)), (String ((Ascii (false, false, true, false, true,
-    true, true, false)), (String ((Ascii (true, true, false, false, false,
-    true, true, false)), (String ((Ascii (false, false, false, true, false,
-    true, true, false)), (String ((Ascii (false, true, true, true, false,
-    false, true, false)), (String ((Ascii (true, false, true, false, true,
-    true, true, false)), (String ((Ascii (true, false, true, true, false,
-    true, true, false)), (String ((Ascii (false, true, false, false, false,
-    true, true, false)), (String ((Ascii (true, false, true, false, false,
-    true, true, false)), (String ((Ascii (false, true, false, false, true,
-    true, true, false)), EmptyString)))))))))))))))))))))), (S (S (S (S (S (S
-    (S O))))))))) :: []))))))))))))))))); l_cuts =
-    ((mkcut O (S O) EmptyString []) :: ((mkcut (S O) (S (S (S (S O))))
-                                          (String ((Ascii (true, true, false,
-                                          false, true, false, true, false)),
-                                          (String ((Ascii (true, false, true,
-                                          false, false, true, true, false)),
-                                          (String ((Ascii (false, true,
-                                          false, false, true, true, true,
-                                          false)), (String ((Ascii (false,
-                                          true, true, false, true, true,
-                                          true, false)), (String ((Ascii
-                                          (true, false, false, true, false,
-                                          true, true, false)), (String
-                                          ((Ascii (true, true, false, false,
-                                          false, true, true, false)), (String
-                                          ((Ascii (true, false, true, false,
-                                          false, true, true, false)), (String
-                                          ((Ascii (true, true, false, false,
-                                          false, false, true, false)),
-                                          (String ((Ascii (false, false,
-                                          true, true, false, true, true,
-                                          false)), (String ((Ascii (true,
-                                          false, false, false, false, true,
-                                          true, false)), (String ((Ascii
-                                          (true, true, false, false, true,
-                                          true, true, false)), (String
-                                          ((Ascii (true, true, false, false,
-                                          true, true, true, false)), (String
-                                          ((Ascii (true, true, false, false,
-                                          false, false, true, false)),
-                                          (String ((Ascii (true, true, true,
-                                          true, false, true, true, false)),
-                                          (String ((Ascii (false, false,
-                                          true, false, false, true, true,
-                                          false)), (String ((Ascii (true,
-                                          false, true, false, false, true,
-                                          true, false)),
-                                          EmptyString))))))))))))))))))))))))))))))))
-                                          ((String ((Ascii (false, false,
-                                          false, false, true, true, true,
-                                          false)), (String ((Ascii (true,
-                                          false, false, false, false, true,
-                                          true, false)), (String ((Ascii
-                                          (false, true, false, false, true,
-                                          true, true, false)), (String
-                                          ((Ascii (true, true, false, false,
-                                          true, true, true, false)), (String
-                                          ((Ascii (true, false, true, false,
-                                          false, true, true, false)), (String
-                                          ((Ascii (false, true, true, true,
-                                          false, false, true, false)),
-                                          (String ((Ascii (true, false, true,
-                                          false, true, true, true, false)),
-                                          (String ((Ascii (true, false, true,
-                                          true, false, true, true, false)),
-                                          (String ((Ascii (false, true, true,
-                                          false, false, false, true, false)),
-                                          (String ((Ascii (true, false,
-                                          false, true, false, true, true,
-                                          false)), (String ((Ascii (true,
-                                          false, true, false, false, true,
-                                          true, false)), (String ((Ascii
-                                          (false, false, true, true, false,
-                                          true, true, false)), (String
-                                          ((Ascii (false, false, true, false,
-                                          false, true, true, false)),
-                                          EmptyString)))))))))))))))))))))))))) :: [])) :: (
-    (mkcut (S (S (S (S O)))) (S (S (S (S (S (S (S (S (S (S (S (S (S (S (S (S
-      (S (S (S (S O)))))))))))))))))))) (String ((Ascii (true, false, false,
-      true, false, false, true, false)), (String ((Ascii (true, false, false,
-      false, false, false, true, false)), (String ((Ascii (false, false,
-      true, false, true, false, true, false)), (String ((Ascii (true, false,
-      false, true, false, false, true, false)), (String ((Ascii (false, true,
-      true, true, false, true, true, false)), (String ((Ascii (false, false,
-      true, false, false, true, true, false)), (String ((Ascii (true, false,
-      false, true, false, true, true, false)), (String ((Ascii (true, true,
-      false, false, false, true, true, false)), (String ((Ascii (true, false,
-      false, false, false, true, true, false)), (String ((Ascii (false,
-      false, true, false, true, true, true, false)), (String ((Ascii (true,
-      true, true, true, false, true, true, false)), (String ((Ascii (false,
-      true, false, false, true, true, true, false)),
-      EmptyString)))))))))))))))))))))))) ((String ((Ascii (false, false,
-      false, false, true, true, true, false)), (String ((Ascii (true, false,
-      false, false, false, true, true, false)), (String ((Ascii (false, true,
-      false, false, true, true, true, false)), (String ((Ascii (true, true,
-      false, false, true, true, true, false)), (String ((Ascii (true, false,
-      true, false, false, true, true, false)), (String ((Ascii (true, true,
-      false, false, true, false, true, false)), (String ((Ascii (false,
-      false, true, false, true, true, true, false)), (String ((Ascii (false,
-      true, false, false, true, true, true, false)), (String ((Ascii (true,
-      false, false, true, false, true, true, false)), (String ((Ascii (false,
-      true, true, true, false, true, true, false)), (String ((Ascii (true,
-      true, true, false, false, true, true, false)), (String ((Ascii (false,
-      true, true, false, false, false, true, false)), (String ((Ascii (true,
-      false, false, true, false, true, true, false)), (String ((Ascii (true,
-      false, true, false, false, true, true, false)), (String ((Ascii (false,
-      false, true, true, false, true, true, false)), (String ((Ascii (false,
-      false, true, false, false, true, true, false)),
-      EmptyString)))))))))))))))))))))))))))))))) :: [])) :: ((mkcut (S (S (S
-                                                                (S (S (S (S
-                                                                (S (S (S (S
-                                                                (S (S (S (S
-                                                                (S (S (S (S
-                                                                (S
-                                                                O))))))))))))))))))))
-                                                                (S (S (S (S
-                                                                (S (S (S (S
-                                                                (S (S (S (S
-                                                                (S (S (S (S
-                                                                (S (S (S (S
-                                                                (S (S
-                                                                O))))))))))))))))))))))
-                                                                (String
-                                                                ((Ascii
-                                                                (false, true,
-                                                                true, false,
-                                                                false, false,
-                                                                true,
-                                                                false)),
-                                                                (String
-                                                                ((Ascii
-                                                                (true, true,
-                                                                true, true,
-                                                                false, true,
-                                                                true,
-                                                                false)),
-                                                                (String
-                                                                ((Ascii
-                                                                (false, true,
-                                                                false, false,
-                                                                true, true,
-                                                                true,
-                                                                false)),
-                                                                (String
-                                                                ((Ascii
-                                                                (true, false,
-                                                                true, false,
-                                                                false, true,
-                                                                true,
-                                                                false)),
-                                                                (String
-                                                                ((Ascii
-                                                                (true, false,
-                                                                false, true,
-                                                                false, true,
-                                                                true,
-                                                                false)),
-                                                                (String
-                                                                ((Ascii
-                                                                (true, true,
-                                                                true, false,
-                                                                false, true,
-                                                                true,
-                                                                false)),
-                                                                (String
-                                                                ((Ascii
-                                                                (false, true,
-                                                                true, true,
-                                                                false, true,
-                                                                true,
-                                                                false)),
-                                                                (String
-                                                                ((Ascii
-                                                                (true, false,
-                                                                true, false,
-                                                                false, false,
-                                                                true,
-                                                                false)),
-                                                                (String
-                                                                ((Ascii
-                                                                (false,
-                                                                false, false,
-                                                                true, true,
-                                                                true, true,
-                                                                false)),
-                                                                (String
-                                                                ((Ascii
-                                                                (true, true,
-                                                                false, false,
-                                                                false, true,
-                                                                true,
-                                                                false)),
-                                                                (String
-                                                                ((Ascii
-                                                                (false,
-                                                                false, false,
-                                                                true, false,
-                                                                true, true,
-                                                                false)),
-                                                                (String
-                                                                ((Ascii
-                                                                (true, false,
-                                                                false, false,
-                                                                false, true,
-                                                                true,
-                                                                false)),
-                                                                (String
-                                                                ((Ascii
-                                                                (false, true,
-                                                                true, true,
-                                                                false, true,
-                                                                true,
-                                                                false)),
-                                                                (String
-                                                                ((Ascii
-                                                                (true, true,
-                                                                true, false,
-                                                                false, true,
-                                                                true,
-                                                                false)),
-                                                                (String
-                                                                ((Ascii
-                                                                (true, false,
-                                                                true, false,
-                                                                false, true,
-                                                                true,
-                                                                false)),
-                                                                (String
-                                                                ((Ascii
-                                                                (true, false,
-                                                                false, true,
-                                                                false, false,
-                                                                true,
-                                                                false)),
-                                                                (String
-                                                                ((Ascii
-                                                                (false, true,
-                                                                true, true,
-                                                                false, true,
-                                                                true,
-                                                                false)),
-                                                                (String
-                                                                ((Ascii
-                                                                (false,
-                                                                false, true,
-                                                                false, false,
-                                                                true, true,
-                                                                false)),
-                                                                (String
-                                                                ((Ascii
-                                                                (true, false,
-                                                                false, true,
-                                                                false, true,
-                                                                true,
-                                                                false)),
-                                                                (String
-                                                                ((Ascii
-                                                                (true, true,
-                                                                false, false,
-                                                                false, true,
-                                                                true,
-                                                                false)),
-                                                                (String
-                                                                ((Ascii
-                                                                (true, false,
-                                                                false, false,
-                                                                false, true,
-                                                                true,
-                                                                false)),
-                                                                (String
-                                                                ((Ascii
-                                                                (false,
-                                                                false, true,
-                                                                false, true,
-                                                                true, true,
-                                                                false)),
-                                                                (String
-                                                                ((Ascii
-                                                                (true, true,
-                                                                true, true,
-                                                                false, true,
-                                                                true,
-                                                                false)),
-                                                                (String
-                                                                ((Ascii
-                                                                (false, true,
-                                                                false, false,
-                                                                true, true,
-                                                                true,
-                                                                false)),
-                                                                EmptyString))))))))))))))))))))))))))))))))))))))))))))))))
-                                                                ((String
-                                                                ((Ascii
-                                                                (false,
-                                                                false, false,
-                                                                false, true,
-                                                                true, true,
-                                                                false)),
-                                                                (String
-                                                                ((Ascii
-                                                                (true, false,
-                                                                false, false,
-                                                                false, true,
-                                                                true,
-                                                                false)),
-                                                                (String
-                                                                ((Ascii
-                                                                (false, true,
-                                                                false, false,
-                                                                true, true,
-                                                                true,
-                                                                false)),
-                                                                (String
-                                                                ((Ascii
-                                                                (true, true,
-                                                                false, false,
-                                                                true, true,
-                                                                true,
-                                                                false)),
-                                                                (String
-                                                                ((Ascii
-                                                                (true, false,
-                                                                true, false,
-                                                                false, true,
-                                                                true,
-                                                                false)),
-                                                                (String
-                                                                ((Ascii
-                                                                (true, true,
-                                                                false, false,
-                                                                true, false,
-                                                                true,
-                                                                false)),
-                                                                (String
-                                                                ((Ascii
-                                                                (false,
-                                                                false, true,
-                                                                false, true,
-                                                                true, true,
-                                                                false)),
-                                                                (String
-                                                                ((Ascii
-                                                                (false, true,
-                                                                false, false,
-                                                                true, true,
-                                                                true,
-                                                                false)),
-                                                                (String
-                                                                ((Ascii
-                                                                (true, false,
-                                                                false, true,
-                                                                false, true,
-                                                                true,
-                                                                false)),
-                                                                (String
-                                                                ((Ascii
-                                                                (false, true,
-                                                                true, true,
-                                                                false, true,
-                                                                true,
-                                                                false)),
-                                                                (String
-                                                                ((Ascii
-                                                                (true, true,
-                                                                true, false,
-                                                                false, true,
-                                                                true,
-                                                                false)),
-                                                                (String
-                                                                ((Ascii
-                                                                (false, true,
-                                                                true, false,
-                                                                false, false,
-                                                                true,
-                                                                false)),
-                                                                (String
-                                                                ((Ascii
-                                                                (true, false,
-                                                                false, true,
-                                                                false, true,
-                                                                true,
-                                                                false)),
-                                                                (String
-                                                                ((Ascii
-                                                                (true, false,
-                                                                true, false,
-                                                                false, true,
-                                                                true,
-                                                                false)),
-                                                                (String
-                                                                ((Ascii
-                                                                (false,
-                                                                false, true,
-                                                                true, false,
-                                                                true, true,
-                                                                false)),
-                                                                (String
-                                                                ((Ascii
-                                                                (false,
-                                                                false, true,
-                                                                false, false,
-                                                                true, true,
-                                                                false)),
-                                                                EmptyString)))))))))))))))))))))))))))))))) :: [])) :: (
-    (mkcut (S (S (S (S (S (S (S (S (S (S (S (S (S (S (S (S (S (S (S (S (S (S
-      O)))))))))))))))))))))) (S (S (S (S (S (S (S (S (S (S (S (S (S (S (S (S
-      (S (S (S (S (S (S (S O))))))))))))))))))))))) (String ((Ascii (false,
-      true, true, false, false, false, true, false)), (String ((Ascii (true,
-      true, true, true, false, true, true, false)), (String ((Ascii (false,
-      true, false, false, true, true, true, false)), (String ((Ascii (true,
-      false, true, false, false, true, true, false)), (String ((Ascii (true,
-      false, false, true, false, true, true, false)), (String ((Ascii (true,
-      true, true, false, false, true, true, false)), (String ((Ascii (false,
-      true, true, true, false, true, true, false)), (String ((Ascii (true,
-      false, true, false, false, false, true, false)), (String ((Ascii
-      (false, false, false, true, true, true, true, false)), (String ((Ascii
-      (true, true, false, false, false, true, true, false)), (String ((Ascii
-      (false, false, false, true, false, true, true, false)), (String ((Ascii
-      (true, false, false, false, false, true, true, false)), (String ((Ascii
-      (false, true, true, true, false, true, true, false)), (String ((Ascii
-      (true, true, true, false, false, true, true, false)), (String ((Ascii
-      (true, false, true, false, false, true, true, false)), (String ((Ascii
-      (false, true, false, false, true, false, true, false)), (String ((Ascii
-      (true, false, true, false, false, true, true, false)), (String ((Ascii
-      (false, true, true, false, false, true, true, false)), (String ((Ascii
-      (true, false, true, false, false, true, true, false)), (String ((Ascii
-      (false, true, false, false, true, true, true, false)), (String ((Ascii
-      (true, false, true, false, false, true, true, false)), (String ((Ascii
-      (false, true, true, true, false, true, true, false)), (String ((Ascii
-      (true, true, false, false, false, true, true, false)), (String ((Ascii
-      (true, false, true, false, false, true, true, false)), (String ((Ascii
-      (true, false, false, true, false, false, true, false)), (String ((Ascii
-      (false, true, true, true, false, true, true, false)), (String ((Ascii
-      (false, false, true, false, false, true, true, false)), (String ((Ascii
-      (true, false, false, true, false, true, true, false)), (String ((Ascii
-      (true, true, false, false, false, true, true, false)), (String ((Ascii
-      (true, false, false, false, false, true, true, false)), (String ((Ascii
-      (false, false, true, false, true, true, true, false)), (String ((Ascii
-      (true, true, true, true, false, true, true, false)), (String ((Ascii
-      (false, true, false, false, true, true, true, false)),
-      EmptyString))))))))))))))))))))))))))))))))))))))))))))))))))))))))))))))))))
-      ((String ((Ascii (false, false, false, false, true, true, true,
-      false)), (String ((Ascii (true, false, false, false, false, true, true,
-      false)), (String ((Ascii (false, true, false, false, true, true, true,
-      false)), (String ((Ascii (true, true, false, false, true, true, true,
-      false)), (String ((Ascii (true, false, true, false, false, true, true,
-      false)), (String ((Ascii (false, true, true, true, false, false, true,
-      false)), (String ((Ascii (true, false, true, false, true, true, true,
-      false)), (String ((Ascii (true, false, true, true, false, true, true,
-      false)), (String ((Ascii (false, true, true, false, false, false, true,
-      false)), (String ((Ascii (true, false, false, true, false, true, true,
-      false)), (String ((Ascii (true, false, true, false, false, true, true,
-      false)), (String ((Ascii (false, false, true, true, false, true, true,
-      false)), (String ((Ascii (false, false, true, false, false, true, true,
-      false)), EmptyString)))))))))))))))))))))))))) :: [])) :: ((mkcut (S (S
-                                                                   (S (S (S
-                                                                   (S (S (S
-                                                                   (S (S (S
-                                                                   (S (S (S
-                                                                   (S (S (S
-                                                                   (S (S (S
-                                                                   (S (S (S
-                                                                   O)))))))))))))))))))))))
-                                                                   (S (S (S
-                                                                   (S (S (S
-                                                                   (S (S (S
-                                                                   (S (S (S
-                                                                   (S (S (S
-                                                                   (S (S (S
-                                                                   (S (S (S
-                                                                   (S (S (S
-                                                                   (S (S (S
-                                                                   (S (S (S
-                                                                   (S (S (S
-                                                                   (S (S (S
-                                                                   (S (S
-                                                                   O))))))))))))))))))))))))))))))))))))))
-                                                                   (String
-                                                                   ((Ascii
-                                                                   (false,
-                                                                   true,
-                                                                   true,
-                                                                   false,
-                                                                   false,
-                                                                   false,
-                                                                   true,
-                                                                   false)),
-                                                                   (String
-                                                                   ((Ascii
-                                                                   (true,
-                                                                   true,
-                                                                   true,
-                                                                   true,
-                                                                   false,
-                                                                   true,
-                                                                   true,
-                                                                   false)),
-                                                                   (String
-                                                                   ((Ascii
-                                                                   (false,
-                                                                   true,
-                                                                   false,
-                                                                   false,
-                                                                   true,
-                                                                   true,
-                                                                   true,
-                                                                   false)),
-                                                                   (String
-                                                                   ((Ascii
-                                                                   (true,
-                                                                   false,
-                                                                   true,
-                                                                   false,
-                                                                   false,
-                                                                   true,
-                                                                   true,
-                                                                   false)),
-                                                                   (String
-                                                                   ((Ascii
-                                                                   (true,
-                                                                   false,
-                                                                   false,
-                                                                   true,
-                                                                   false,
-                                                                   true,
-                                                                   true,
-                                                                   false)),
-                                                                   (String
-                                                                   ((Ascii
-                                                                   (true,
-                                                                   true,
-                                                                   true,
-                                                                   false,
-                                                                   false,
-                                                                   true,
-                                                                   true,
-                                                                   false)),
-                                                                   (String
-                                                                   ((Ascii
-                                                                   (false,
-                                                                   true,
-                                                                   true,
-                                                                   true,
-                                                                   false,
-                                                                   true,
-                                                                   true,
-                                                                   false)),
-                                                                   (String
-                                                                   ((Ascii
-                                                                   (true,
-                                                                   false,
-                                                                   true,
-                                                                   false,
-                                                                   false,
-                                                                   false,
-                                                                   true,
-                                                                   false)),
-                                                                   (String
-                                                                   ((Ascii
-                                                                   (false,
-                                                                   false,
-                                                                   false,
-                                                                   true,
-                                                                   true,
-                                                                   true,
-                                                                   true,
-                                                                   false)),
-                                                                   (String
-                                                                   ((Ascii
-                                                                   (true,
-                                                                   true,
-                                                                   false,
-                                                                   false,
-                                                                   false,
-                                                                   true,
-                                                                   true,
-                                                                   false)),
-                                                                   (String
-                                                                   ((Ascii
-                                                                   (false,
-                                                                   false,
-                                                                   false,
-                                                                   true,
-                                                                   false,
-                                                                   true,
-                                                                   true,
-                                                                   false)),
-                                                                   (String
-                                                                   ((Ascii
-                                                                   (true,
-                                                                   false,
-                                                                   false,
-                                                                   false,
-                                                                   false,
-                                                                   true,
-                                                                   true,
-                                                                   false)),
-                                                                   (String
-                                                                   ((Ascii
-                                                                   (false,
-                                                                   true,
-                                                                   true,
-                                                                   true,
-                                                                   false,
-                                                                   true,
-                                                                   true,
-                                                                   false)),
-                                                                   (String
-                                                                   ((Ascii
-                                                                   (true,
-                                                                   true,
-                                                                   true,
-                                                                   false,
-                                                                   false,
-                                                                   true,
-                                                                   true,
-                                                                   false)),
-                                                                   (String
-                                                                   ((Ascii
-                                                                   (true,
-                                                                   false,
-                                                                   true,
-                                                                   false,
-                                                                   false,
-                                                                   true,
-                                                                   true,
-                                                                   false)),
-                                                                   (String
-                                                                   ((Ascii
-                                                                   (false,
-                                                                   true,
-                                                                   false,
-                                                                   false,
-                                                                   true,
-                                                                   false,
-                                                                   true,
-                                                                   false)),
-                                                                   (String
-                                                                   ((Ascii
-                                                                   (true,
-                                                                   false,
-                                                                   true,
-                                                                   false,
-                                                                   false,
-                                                                   true,
-                                                                   true,
-                                                                   false)),
-                                                                   (String
-                                                                   ((Ascii
-                                                                   (false,
-                                                                   true,
-                                                                   true,
-                                                                   false,
-                                                                   false,
-                                                                   true,
-                                                                   true,
-                                                                   false)),
-                                                                   (String
-                                                                   ((Ascii
-                                                                   (true,
-                                                                   false,
-                                                                   true,
-                                                                   false,
-                                                                   false,
-                                                                   true,
-                                                                   true,
-                                                                   false)),
-                                                                   (String
-                                                                   ((Ascii
-                                                                   (false,
-                                                                   true,
-                                                                   false,
-                                                                   false,
-                                                                   true,
-                                                                   true,
-                                                                   true,
-                                                                   false)),
-                                                                   (String
-                                                                   ((Ascii
-                                                                   (true,
-                                                                   false,
-                                                                   true,
-                                                                   false,
-                                                                   false,
-                                                                   true,
-                                                                   true,
-                                                                   false)),
-                                                                   (String
-                                                                   ((Ascii
-                                                                   (false,
-                                                                   true,
-                                                                   true,
-                                                                   true,
-                                                                   false,
-                                                                   true,
-                                                                   true,
-                                                                   false)),
-                                                                   (String
-                                                                   ((Ascii
-                                                                   (true,
-                                                                   true,
-                                                                   false,
-                                                                   false,
-                                                                   false,
-                                                                   true,
-                                                                   true,
-                                                                   false)),
-                                                                   (String
-                                                                   ((Ascii
-                                                                   (true,
-                                                                   false,
-                                                                   true,
-                                                                   false,
-                                                                   false,
-                                                                   true,
-                                                                   true,
-                                                                   false)),
-                                                                   EmptyString))))))))))))))))))))))))))))))))))))))))))))))))
-                                                                   ((String
-                                                                   ((Ascii
-                                                                   (false,
-                                                                   false,
-                                                                   false,
-                                                                   false,
-                                                                   true,
-                                                                   true,
-                                                                   true,
-                                                                   false)),
-                                                                   (String
-                                                                   ((Ascii
-                                                                   (true,
-                                                                   false,
-                                                                   false,
-                                                                   false,
-                                                                   false,
-                                                                   true,
-                                                                   true,
-                                                                   false)),
-                                                                   (String
-                                                                   ((Ascii
-                                                                   (false,
-                                                                   true,
-                                                                   false,
-                                                                   false,
-                                                                   true,
-                                                                   true,
-                                                                   true,
-                                                                   false)),
-                                                                   (String
-                                                                   ((Ascii
-                                                                   (true,
-                                                                   true,
-                                                                   false,
-                                                                   false,
-                                                                   true,
-                                                                   true,
-                                                                   true,
-                                                                   false)),
-                                                                   (String
-                                                                   ((Ascii
-                                                                   (true,
-                                                                   false,
-                                                                   true,
-                                                                   false,
-                                                                   false,
-                                                                   true,
-                                                                   true,
-                                                                   false)),
-                                                                   (String
-                                                                   ((Ascii
-                                                                   (true,
-                                                                   true,
-                                                                   false,
-                                                                   false,
-                                                                   true,
-                                                                   false,
-                                                                   true,
-                                                                   false)),
-                                                                   (String
-                                                                   ((Ascii
-                                                                   (false,
-                                                                   false,
-                                                                   true,
-                                                                   false,
-                                                                   true,
-                                                                   true,
-                                                                   true,
-                                                                   false)),
-                                                                   (String
-                                                                   ((Ascii
-                                                                   (false,
-                                                                   true,
-                                                                   false,
-                                                                   false,
-                                                                   true,
-                                                                   true,
-                                                                   true,
-                                                                   false)),
-                                                                   (String
-                                                                   ((Ascii
-                                                                   (true,
-                                                                   false,
-                                                                   false,
-                                                                   true,
-                                                                   false,
-                                                                   true,
-                                                                   true,
-                                                                   false)),
-                                                                   (String
-                                                                   ((Ascii
-                                                                   (false,
-                                                                   true,
-                                                                   true,
-                                                                   true,
-                                                                   false,
-                                                                   true,
-                                                                   true,
-                                                                   false)),
-                                                                   (String
-                                                                   ((Ascii
-                                                                   (true,
-                                                                   true,
-                                                                   true,
-                                                                   false,
-                                                                   false,
-                                                                   true,
-                                                                   true,
-                                                                   false)),
-                                                                   (String
-                                                                   ((Ascii
-                                                                   (false,
-                                                                   true,
-                                                                   true,
-                                                                   false,
-                                                                   false,
-                                                                   false,
-                                                                   true,
-                                                                   false)),
-                                                                   (String
-                                                                   ((Ascii
-                                                                   (true,
-                                                                   false,
-                                                                   false,
-                                                                   true,
-                                                                   false,
-                                                                   true,
-                                                                   true,
-                                                                   false)),
-                                                                   (String
-                                                                   ((Ascii
-                                                                   (true,
-                                                                   false,
-                                                                   true,
-                                                                   false,
-                                                                   false,
-                                                                   true,
-                                                                   true,
-                                                                   false)),
-                                                                   (String
-                                                                   ((Ascii
-                                                                   (false,
-                                                                   false,
-                                                                   true,
-                                                                   true,
-                                                                   false,
-                                                                   true,
-                                                                   true,
-                                                                   false)),
-                                                                   (String
-                                                                   ((Ascii
-                                                                   (false,
-                                                                   false,
-                                                                   true,
-                                                                   false,
-                                                                   false,
-                                                                   true,
-                                                                   true,
-                                                                   false)),
-                                                                   EmptyString)))))))))))))))))))))))))))))))) :: [])) :: (
-    (mkcut (S (S (S (S (S (S (S (S (S (S (S (S (S (S (S (S (S (S (S (S (S (S
-      (S (S (S (S (S (S (S (S (S (S (S (S (S (S (S (S
-      O)))))))))))))))))))))))))))))))))))))) (S (S (S (S (S (S (S (S (S (S
-      (S (S (S (S (S (S (S (S (S (S (S (S (S (S (S (S (S (S (S (S (S (S (S (S
-      (S (S (S (S (S (S O)))))))))))))))))))))))))))))))))))))))) (String
-      ((Ascii (true, false, false, true, false, false, true, false)), (String
-      ((Ascii (true, true, false, false, true, false, true, false)), (String
-      ((Ascii (true, true, true, true, false, false, true, false)), (String
-      ((Ascii (false, false, true, false, false, false, true, false)),
-      (String ((Ascii (true, false, true, false, false, true, true, false)),
-      (String ((Ascii (true, true, false, false, true, true, true, false)),
-      (String ((Ascii (false, false, true, false, true, true, true, false)),
-      (String ((Ascii (true, false, false, true, false, true, true, false)),
-      (String ((Ascii (false, true, true, true, false, true, true, false)),
-      (String ((Ascii (true, false, false, false, false, true, true, false)),
-      (String ((Ascii (false, false, true, false, true, true, true, false)),
-      (String ((Ascii (true, false, false, true, false, true, true, false)),
-      (String ((Ascii (true, true, true, true, false, true, true, false)),
-      (String ((Ascii (false, true, true, true, false, true, true, false)),
-      (String ((Ascii (true, true, false, false, false, false, true, false)),
-      (String ((Ascii (true, true, true, true, false, true, true, false)),
-      (String ((Ascii (true, false, true, false, true, true, true, false)),
-      (String ((Ascii (false, true, true, true, false, true, true, false)),
-      (String ((Ascii (false, false, true, false, true, true, true, false)),
-      (String ((Ascii (false, true, false, false, true, true, true, false)),
-      (String ((Ascii (true, false, false, true, true, true, true, false)),
-      (String ((Ascii (true, true, false, false, false, false, true, false)),
-      (String ((Ascii (true, true, true, true, false, true, true, false)),
-      (String ((Ascii (false, false, true, false, false, true, true, false)),
-      (String ((Ascii (true, false, true, false, false, true, true, false)),
-      EmptyString)))))))))))))))))))))))))))))))))))))))))))))))))) ((String
-      ((Ascii (false, false, false, false, true, true, true, false)), (String
-      ((Ascii (true, false, false, false, false, true, true, false)), (String
-      ((Ascii (false, true, false, false, true, true, true, false)), (String
-      ((Ascii (true, true, false, false, true, true, true, false)), (String
-      ((Ascii (true, false, true, false, false, true, true, false)), (String
-      ((Ascii (true, true, false, false, true, false, true, false)), (String
-      ((Ascii (false, false, true, false, true, true, true, false)), (String
-      ((Ascii (false, true, false, false, true, true, true, false)), (String
-      ((Ascii (true, false, false, true, false, true, true, false)), (String
-      ((Ascii (false, true, true, true, false, true, true, false)), (String
-      ((Ascii (true, true, true, false, false, true, true, false)), (String
-      ((Ascii (false, true, true, false, false, false, true, false)), (String
-      ((Ascii (true, false, false, true, false, true, true, false)), (String
-      ((Ascii (true, false, true, false, false, true, true, false)), (String
-      ((Ascii (false, false, true, true, false, true, true, false)), (String
-      ((Ascii (false, false, true, false, false, true, true, false)),
-      EmptyString)))))))))))))))))))))))))))))))) :: [])) :: ((mkcut (S (S (S
-                                                                (S (S (S (S
-                                                                (S (S (S (S
-                                                                (S (S (S (S
-                                                                (S (S (S (S
-                                                                (S (S (S (S
-                                                                (S (S (S (S
-                                                                (S (S (S (S
-                                                                (S (S (S (S
-                                                                (S (S (S (S
-                                                                (S
-                                                                O))))))))))))))))))))))))))))))))))))))))
-                                                                (S (S (S (S
-                                                                (S (S (S (S
-                                                                (S (S (S (S
-                                                                (S (S (S (S
-                                                                (S (S (S (S
-                                                                (S (S (S (S
-                                                                (S (S (S (S
-                                                                (S (S (S (S
-                                                                (S (S (S (S
-                                                                (S (S (S (S
-                                                                (S (S (S (S
-                                                                (S (S (S (S
-                                                                (S (S
-                                                                O))))))))))))))))))))))))))))))))))))))))))))))))))
-                                                                (String
-                                                                ((Ascii
-                                                                (true, true,
-                                                                true, true,
-                                                                false, false,
-                                                                true,
-                                                                false)),
-                                                                (String
-                                                                ((Ascii
-                                                                (false, true,
-                                                                false, false,
-                                                                true, true,
-                                                                true,
-                                                                false)),
-                                                                (String
-                                                                ((Ascii
-                                                                (true, false,
-                                                                false, true,
-                                                                false, true,
-                                                                true,
-                                                                false)),
-                                                                (String
-                                                                ((Ascii
-                                                                (true, true,
-                                                                true, false,
-                                                                false, true,
-                                                                true,
-                                                                false)),
-                                                                (String
-                                                                ((Ascii
-                                                                (true, false,
-                                                                false, true,
-                                                                false, true,
-                                                                true,
-                                                                false)),
-                                                                (String
-                                                                ((Ascii
-                                                                (false, true,
-                                                                true, true,
-                                                                false, true,
-                                                                true,
-                                                                false)),
-                                                                (String
-                                                                ((Ascii
-                                                                (true, false,
-                                                                false, false,
-                                                                false, true,
-                                                                true,
-                                                                false)),
-                                                                (String
-                                                                ((Ascii
-                                                                (false,
-                                                                false, true,
-                                                                false, true,
-                                                                true, true,
-                                                                false)),
-                                                                (String
-                                                                ((Ascii
-                                                                (true, true,
-                                                                true, true,
-                                                                false, true,
-                                                                true,
-                                                                false)),
-                                                                (String
-                                                                ((Ascii
-                                                                (false, true,
-                                                                false, false,
-                                                                true, true,
-                                                                true,
-                                                                false)),
-                                                                (String
-                                                                ((Ascii
-                                                                (true, false,
-                                                                false, true,
-                                                                false, false,
-                                                                true,
-                                                                false)),
-                                                                (String
-                                                                ((Ascii
-                                                                (false,
-                                                                false, true,
-                                                                false, false,
-                                                                true, true,
-                                                                false)),
-                                                                (String
-                                                                ((Ascii
-                                                                (true, false,
-                                                                true, false,
-                                                                false, true,
-                                                                true,
-                                                                false)),
-                                                                (String
-                                                                ((Ascii
-                                                                (false, true,
-                                                                true, true,
-                                                                false, true,
-                                                                true,
-                                                                false)),
-                                                                (String
-                                                                ((Ascii
-                                                                (false,
-                                                                false, true,
-                                                                false, true,
-                                                                true, true,
-                                                                false)),
-                                                                (String
-                                                                ((Ascii
-                                                                (true, false,
-                                                                false, true,
-                                                                false, true,
-                                                                true,
-                                                                false)),
-                                                                (String
-                                                                ((Ascii
-                                                                (false, true,
-                                                                true, false,
-                                                                false, true,
-                                                                true,
-                                                                false)),
-                                                                (String
-                                                                ((Ascii
-                                                                (true, false,
-                                                                false, true,
-                                                                false, true,
-                                                                true,
-                                                                false)),
-                                                                (String
-                                                                ((Ascii
-                                                                (true, true,
-                                                                false, false,
-                                                                false, true,
-                                                                true,
-                                                                false)),
-                                                                (String
-                                                                ((Ascii
-                                                                (true, false,
-                                                                false, false,
-                                                                false, true,
-                                                                true,
-                                                                false)),
-                                                                (String
-                                                                ((Ascii
-                                                                (false,
-                                                                false, true,
-                                                                false, true,
-                                                                true, true,
-                                                                false)),
-                                                                (String
-                                                                ((Ascii
-                                                                (true, false,
-                                                                false, true,
-                                                                false, true,
-                                                                true,
-                                                                false)),
-                                                                (String
-                                                                ((Ascii
-                                                                (true, true,
-                                                                true, true,
-                                                                false, true,
-                                                                true,
-                                                                false)),
-                                                                (String
-                                                                ((Ascii
-                                                                (false, true,
-                                                                true, true,
-                                                                false, true,
-                                                                true,
-                                                                false)),
-                                                                EmptyString))))))))))))))))))))))))))))))))))))))))))))))))
-                                                                ((String
-                                                                ((Ascii
-                                                                (false,
-                                                                false, false,
-                                                                false, true,
-                                                                true, true,
-                                                                false)),
-                                                                (String
-                                                                ((Ascii
-                                                                (true, false,
-                                                                false, false,
-                                                                false, true,
-                                                                true,
-                                                                false)),
-                                                                (String
-                                                                ((Ascii
-                                                                (false, true,
-                                                                false, false,
-                                                                true, true,
-                                                                true,
-                                                                false)),
-                                                                (String
-                                                                ((Ascii
-                                                                (true, true,
-                                                                false, false,
-                                                                true, true,
-                                                                true,
-                                                                false)),
-                                                                (String
-                                                                ((Ascii
-                                                                (true, false,
-                                                                true, false,
-                                                                false, true,
-                                                                true,
-                                                                false)),
-                                                                (String
-                                                                ((Ascii
-                                                                (true, true,
-                                                                false, false,
-                                                                true, false,
-                                                                true,
-                                                                false)),
-                                                                (String
-                                                                ((Ascii
-                                                                (false,
-                                                                false, true,
-                                                                false, true,
-                                                                true, true,
-                                                                false)),
-                                                                (String
-                                                                ((Ascii
-                                                                (false, true,
-                                                                false, false,
-                                                                true, true,
-                                                                true,
-                                                                false)),
-                                                                (String
-                                                                ((Ascii
-                                                                (true, false,
-                                                                false, true,
-                                                                false, true,
-                                                                true,
-                                                                false)),
-                                                                (String
-                                                                ((Ascii
-                                                                (false, true,
-                                                                true, true,
-                                                                false, true,
-                                                                true,
-                                                                false)),
-                                                                (String
-                                                                ((Ascii
-                                                                (true, true,
-                                                                true, false,
-                                                                false, true,
-                                                                true,
-                                                                false)),
-                                                                (String
-                                                                ((Ascii
-                                                                (false, true,
-                                                                true, false,
-                                                                false, false,
-                                                                true,
-                                                                false)),
-                                                                (String
-                                                                ((Ascii
-                                                                (true, false,
-                                                                false, true,
-                                                                false, true,
-                                                                true,
-                                                                false)),
-                                                                (String
-                                                                ((Ascii
-                                                                (true, false,
-                                                                true, false,
-                                                                false, true,
-                                                                true,
-                                                                false)),
-                                                                (String
-                                                                ((Ascii
-                                                                (false,
-                                                                false, true,
-                                                                true, false,
-                                                                true, true,
-                                                                false)),
-                                                                (String
-                                                                ((Ascii
-                                                                (false,
-                                                                false, true,
-                                                                false, false,
-                                                                true, true,
-                                                                false)),
-                                                                EmptyString)))))))))))))))))))))))))))))))) :: [])) :: (
-    (mkcut (S (S (S (S (S (S (S (S (S (S (S (S (S (S (S (S (S (S (S (S (S (S
-      (S (S (S (S (S (S (S (S (S (S (S (S (S (S (S (S (S (S (S (S (S (S (S (S
-      (S (S (S (S O)))))))))))))))))))))))))))))))))))))))))))))))))) (S (S
-      (S (S (S (S (S (S (S (S (S (S (S (S (S (S (S (S (S (S (S (S (S (S (S (S
-      (S (S (S (S (S (S (S (S (S (S (S (S (S (S (S (S (S (S (S (S (S (S (S (S
-      (S (S (S O))))))))))))))))))))))))))))))))))))))))))))))))))))) (String
-      ((Ascii (true, true, false, false, true, false, true, false)), (String
-      ((Ascii (false, false, true, false, true, true, true, false)), (String
-      ((Ascii (true, false, false, false, false, true, true, false)), (String
-      ((Ascii (false, true, true, true, false, true, true, false)), (String
-      ((Ascii (false, false, true, false, false, true, true, false)), (String
-      ((Ascii (true, false, false, false, false, true, true, false)), (String
-      ((Ascii (false, true, false, false, true, true, true, false)), (String
-      ((Ascii (false, false, true, false, false, true, true, false)), (String
-      ((Ascii (true, false, true, false, false, false, true, false)), (String
-      ((Ascii (false, true, true, true, false, true, true, false)), (String
-      ((Ascii (false, false, true, false, true, true, true, false)), (String
-      ((Ascii (false, true, false, false, true, true, true, false)), (String
-      ((Ascii (true, false, false, true, true, true, true, false)), (String
-      ((Ascii (true, true, false, false, false, false, true, false)), (String
-      ((Ascii (false, false, true, true, false, true, true, false)), (String
-      ((Ascii (true, false, false, false, false, true, true, false)), (String
-      ((Ascii (true, true, false, false, true, true, true, false)), (String
-      ((Ascii (true, true, false, false, true, true, true, false)), (String
-      ((Ascii (true, true, false, false, false, false, true, false)), (String
-      ((Ascii (true, true, true, true, false, true, true, false)), (String
-      ((Ascii (false, false, true, false, false, true, true, false)), (String
-      ((Ascii (true, false, true, false, false, true, true, false)),
-      EmptyString)))))))))))))))))))))))))))))))))))))))))))) []) :: (
-    (mkcut (S (S (S (S (S (S (S (S (S (S (S (S (S (S (S (S (S (S (S (S (S (S
-      (S (S (S (S (S (S (S (S (S (S (S (S (S (S (S (S (S (S (S (S (S (S (S (S
-      (S (S (S (S (S (S (S
-      O))))))))))))))))))))))))))))))))))))))))))))))))))))) (S (S (S (S (S
-      (S (S (S (S (S (S (S (S (S (S (S (S (S (S (S (S (S (S (S (S (S (S (S (S
-      (S (S (S (S (S (S (S (S (S (S (S (S (S (S (S (S (S (S (S (S (S (S (S (S
-      (S (S (S (S (S (S (S (S (S (S
-      O)))))))))))))))))))))))))))))))))))))))))))))))))))))))))))))))
-      (String ((Ascii (true, true, false, false, false, false, true, false)),
-      (String ((Ascii (true, true, true, true, false, true, true, false)),
-      (String ((Ascii (true, false, true, true, false, true, true, false)),
-      (String ((Ascii (false, false, false, false, true, true, true, false)),
-      (String ((Ascii (true, false, false, false, false, true, true, false)),
-      (String ((Ascii (false, true, true, true, false, true, true, false)),
-      (String ((Ascii (true, false, false, true, true, true, true, false)),
-      (String ((Ascii (true, false, true, false, false, false, true, false)),
-      (String ((Ascii (false, true, true, true, false, true, true, false)),
-      (String ((Ascii (false, false, true, false, true, true, true, false)),
-      (String ((Ascii (false, true, false, false, true, true, true, false)),
-      (String ((Ascii (true, false, false, true, true, true, true, false)),
-      (String ((Ascii (false, false, true, false, false, false, true,
-      false)), (String ((Ascii (true, false, true, false, false, true, true,
-      false)), (String ((Ascii (true, true, false, false, true, true, true,
-      false)), (String ((Ascii (true, true, false, false, false, true, true,
-      false)), (String ((Ascii (false, true, false, false, true, true, true,
-      false)), (String ((Ascii (true, false, false, true, false, true, true,
-      false)), (String ((Ascii (false, false, false, false, true, true, true,
-      false)), (String ((Ascii (false, false, true, false, true, true, true,
-      false)), (String ((Ascii (true, false, false, true, false, true, true,
-      false)), (String ((Ascii (true, true, true, true, false, true, true,
-      false)), (String ((Ascii (false, true, true, true, false, true, true,
-      false)), EmptyString))))))))))))))))))))))))))))))))))))))))))))))
-      ((String ((Ascii (true, true, false, false, true, true, true, false)),
-      (String ((Ascii (false, false, true, false, true, true, true, false)),
-      (String ((Ascii (false, true, false, false, true, true, true, false)),
-      (String ((Ascii (true, false, false, true, false, true, true, false)),
-      (String ((Ascii (false, true, true, true, false, true, true, false)),
-      (String ((Ascii (true, true, true, false, false, true, true, false)),
-      (String ((Ascii (true, true, false, false, true, true, true, false)),
-      (String ((Ascii (false, true, true, true, false, true, false, false)),
-      (String ((Ascii (false, false, true, false, true, false, true, false)),
-      (String ((Ascii (false, true, false, false, true, true, true, false)),
-      (String ((Ascii (true, false, false, true, false, true, true, false)),
-      (String ((Ascii (true, false, true, true, false, true, true, false)),
-      (String ((Ascii (true, true, false, false, true, false, true, false)),
-      (String ((Ascii (false, false, false, false, true, true, true, false)),
-      (String ((Ascii (true, false, false, false, false, true, true, false)),
-      (String ((Ascii (true, true, false, false, false, true, true, false)),
-      (String ((Ascii (true, false, true, false, false, true, true, false)),
-      EmptyString)))))))))))))))))))))))))))))))))) :: [])) :: ((mkcut (S (S
-                                                                  (S (S (S (S
-                                                                  (S (S (S (S
-                                                                  (S (S (S (S
-                                                                  (S (S (S (S
-                                                                  (S (S (S (S
-                                                                  (S (S (S (S
-                                                                  (S (S (S (S
-                                                                  (S (S (S (S
-                                                                  (S (S (S (S
-                                                                  (S (S (S (S
-                                                                  (S (S (S (S
-                                                                  (S (S (S (S
-                                                                  (S (S (S (S
-                                                                  (S (S (S (S
-                                                                  (S (S (S (S
-                                                                  (S
-                                                                  O)))))))))))))))))))))))))))))))))))))))))))))))))))))))))))))))
-                                                                  (S (S (S (S
-                                                                  (S (S (S (S
-                                                                  (S (S (S (S
-                                                                  (S (S (S (S
-                                                                  (S (S (S (S
-                                                                  (S (S (S (S
-                                                                  (S (S (S (S
-                                                                  (S (S (S (S
-                                                                  (S (S (S (S
-                                                                  (S (S (S (S
-                                                                  (S (S (S (S
-                                                                  (S (S (S (S
-                                                                  (S (S (S (S
-                                                                  (S (S (S (S
-                                                                  (S (S (S (S
-                                                                  (S (S (S (S
-                                                                  (S (S
-                                                                  O))))))))))))))))))))))))))))))))))))))))))))))))))))))))))))))))))
-                                                                  (String
-                                                                  ((Ascii
-                                                                  (true,
-                                                                  false,
-                                                                  false,
-                                                                  true,
-                                                                  false,
-                                                                  false,
-                                                                  true,
-                                                                  false)),
-                                                                  (String
-                                                                  ((Ascii
-                                                                  (true,
-                                                                  true,
-                                                                  false,
-                                                                  false,
-                                                                  true,
-                                                                  false,
-                                                                  true,
-                                                                  false)),
-                                                                  (String
-                                                                  ((Ascii
-                                                                  (true,
-                                                                  true, true,
-                                                                  true,
-                                                                  false,
-                                                                  false,
-                                                                  true,
-                                                                  false)),
-                                                                  (String
-                                                                  ((Ascii
-                                                                  (true,
-                                                                  true, true,
-                                                                  true,
-                                                                  false,
-                                                                  false,
-                                                                  true,
-                                                                  false)),
-                                                                  (String
-                                                                  ((Ascii
-                                                                  (false,
-                                                                  true,
-                                                                  false,
-                                                                  false,
-                                                                  true, true,
-                                                                  true,
-                                                                  false)),
-                                                                  (String
-                                                                  ((Ascii
-                                                                  (true,
-                                                                  false,
-                                                                  false,
-                                                                  true,
-                                                                  false,
-                                                                  true, true,
-                                                                  false)),
-                                                                  (String
-                                                                  ((Ascii
-                                                                  (true,
-                                                                  true, true,
-                                                                  false,
-                                                                  false,
-                                                                  true, true,
-                                                                  false)),
-                                                                  (String
-                                                                  ((Ascii
-                                                                  (true,
-                                                                  false,
-                                                                  false,
-                                                                  true,
-                                                                  false,
-                                                                  true, true,
-                                                                  false)),
-                                                                  (String
-                                                                  ((Ascii
-                                                                  (false,
-                                                                  true, true,
-                                                                  true,
-                                                                  false,
-                                                                  true, true,
-                                                                  false)),
-                                                                  (String
-                                                                  ((Ascii
-                                                                  (true,
-                                                                  false,
-                                                                  false,
-                                                                  false,
-                                                                  false,
-                                                                  true, true,
-                                                                  false)),
-                                                                  (String
-                                                                  ((Ascii
-                                                                  (false,
-                                                                  false,
-                                                                  true,
-                                                                  false,
-                                                                  true, true,
-                                                                  true,
-                                                                  false)),
-                                                                  (String
-                                                                  ((Ascii
-                                                                  (true,
-                                                                  false,
-                                                                  false,
-                                                                  true,
-                                                                  false,
-                                                                  true, true,
-                                                                  false)),
-                                                                  (String
-                                                                  ((Ascii
-                                                                  (false,
-                                                                  true, true,
-                                                                  true,
-                                                                  false,
-                                                                  true, true,
-                                                                  false)),
-                                                                  (String
-                                                                  ((Ascii
-                                                                  (true,
-                                                                  true, true,
-                                                                  false,
-                                                                  false,
-                                                                  true, true,
-                                                                  false)),
-                                                                  (String
-                                                                  ((Ascii
-                                                                  (true,
-                                                                  true,
-                                                                  false,
-                                                                  false,
-                                                                  false,
-                                                                  false,
-                                                                  true,
-                                                                  false)),
-                                                                  (String
-                                                                  ((Ascii
-                                                                  (true,
-                                                                  false,
-                                                                  true,
-                                                                  false,
-                                                                  true, true,
-                                                                  true,
-                                                                  false)),
-                                                                  (String
-                                                                  ((Ascii
-                                                                  (false,
-                                                                  true,
-                                                                  false,
-                                                                  false,
-                                                                  true, true,
-                                                                  true,
-                                                                  false)),
-                                                                  (String
-                                                                  ((Ascii
-                                                                  (false,
-                                                                  true,
-                                                                  false,
-                                                                  false,
-                                                                  true, true,
-                                                                  true,
-                                                                  false)),
-                                                                  (String
-                                                                  ((Ascii
-                                                                  (true,
-                                                                  false,
-                                                                  true,
-                                                                  false,
-                                                                  false,
-                                                                  true, true,
-                                                                  false)),
-                                                                  (String
-                                                                  ((Ascii
-                                                                  (false,
-                                                                  true, true,
-                                                                  true,
-                                                                  false,
-                                                                  true, true,
-                                                                  false)),
-                                                                  (String
-                                                                  ((Ascii
-                                                                  (true,
-                                                                  true,
-                                                                  false,
-                                                                  false,
-                                                                  false,
-                                                                  true, true,
-                                                                  false)),
-                                                                  (String
-                                                                  ((Ascii
-                                                                  (true,
-                                                                  false,
-                                                                  false,
-                                                                  true, true,
-                                                                  true, true,
-                                                                  false)),
-                                                                  (String
-                                                                  ((Ascii
-                                                                  (true,
-                                                                  true,
-                                                                  false,
-                                                                  false,
-                                                                  false,
-                                                                  false,
-                                                                  true,
-                                                                  false)),
-                                                                  (String
-                                                                  ((Ascii
-                                                                  (true,
-                                                                  true, true,
-                                                                  true,
-                                                                  false,
-                                                                  true, true,
-                                                                  false)),
-                                                                  (String
-                                                                  ((Ascii
-                                                                  (false,
-                                                                  false,
-                                                                  true,
-                                                                  false,
-                                                                  false,
-                                                                  true, true,
-                                                                  false)),
-                                                                  (String
-                                                                  ((Ascii
-                                                                  (true,
-                                                                  false,
-                                                                  true,
-                                                                  false,
-                                                                  false,
-                                                                  true, true,
-                                                                  false)),
-                                                                  EmptyString))))))))))))))))))))))))))))))))))))))))))))))))))))
-                                                                  ((String
-                                                                  ((Ascii
-                                                                  (false,
-                                                                  false,
-                                                                  false,
-                                                                  false,
-                                                                  true, true,
-                                                                  true,
-                                                                  false)),
-                                                                  (String
-                                                                  ((Ascii
-                                                                  (true,
-                                                                  false,
-                                                                  false,
-                                                                  false,
-                                                                  false,
-                                                                  true, true,
-                                                                  false)),
-                                                                  (String
-                                                                  ((Ascii
-                                                                  (false,
-                                                                  true,
-                                                                  false,
-                                                                  false,
-                                                                  true, true,
-                                                                  true,
-                                                                  false)),
-                                                                  (String
-                                                                  ((Ascii
-                                                                  (true,
-                                                                  true,
-                                                                  false,
-                                                                  false,
-                                                                  true, true,
-                                                                  true,
-                                                                  false)),
-                                                                  (String
-                                                                  ((Ascii
-                                                                  (true,
-                                                                  false,
-                                                                  true,
-                                                                  false,
-                                                                  false,
-                                                                  true, true,
-                                                                  false)),
-                                                                  (String
-                                                                  ((Ascii
-                                                                  (true,
-                                                                  true,
-                                                                  false,
-                                                                  false,
-                                                                  true,
-                                                                  false,
-                                                                  true,
-                                                                  false)),
-                                                                  (String
-                                                                  ((Ascii
-                                                                  (false,
-                                                                  false,
-                                                                  true,
-                                                                  false,
-                                                                  true, true,
-                                                                  true,
-                                                                  false)),
-                                                                  (String
-                                                                  ((Ascii
-                                                                  (false,
-                                                                  true,
-                                                                  false,
-                                                                  false,
-                                                                  true, true,
-                                                                  true,
-                                                                  false)),
-                                                                  (String
-                                                                  ((Ascii
-                                                                  (true,
-                                                                  false,
-                                                                  false,
-                                                                  true,
-                                                                  false,
-                                                                  true, true,
-                                                                  false)),
-                                                                  (String
-                                                                  ((Ascii
-                                                                  (false,
-                                                                  true, true,
-                                                                  true,
-                                                                  false,
-                                                                  true, true,
-                                                                  false)),
-                                                                  (String
-                                                                  ((Ascii
-                                                                  (true,
-                                                                  true, true,
-                                                                  false,
-                                                                  false,
-                                                                  true, true,
-                                                                  false)),
-                                                                  (String
-                                                                  ((Ascii
-                                                                  (false,
-                                                                  true, true,
-                                                                  false,
-                                                                  false,
-                                                                  false,
-                                                                  true,
-                                                                  false)),
-                                                                  (String
-                                                                  ((Ascii
-                                                                  (true,
-                                                                  false,
-                                                                  false,
-                                                                  true,
-                                                                  false,
-                                                                  true, true,
-                                                                  false)),
-                                                                  (String
-                                                                  ((Ascii
-                                                                  (true,
-                                                                  false,
-                                                                  true,
-                                                                  false,
-                                                                  false,
-                                                                  true, true,
-                                                                  false)),
-                                                                  (String
-                                                                  ((Ascii
-                                                                  (false,
-                                                                  false,
-                                                                  true, true,
-                                                                  false,
-                                                                  true, true,
-                                                                  false)),
-                                                                  (String
-                                                                  ((Ascii
-                                                                  (false,
-                                                                  false,
-                                                                  true,
-                                                                  false,
-                                                                  false,
-                                                                  true, true,
-                                                                  false)),
-                                                                  EmptyString)))))))))))))))))))))))))))))))) :: [])) :: (
-    (mkcut (S (S (S (S (S (S (S (S (S (S (S (S (S (S (S (S (S (S (S (S (S (S
-      (S (S (S (S (S (S (S (S (S (S (S (S (S (S (S (S (S (S (S (S (S (S (S (S
-      (S (S (S (S (S (S (S (S (S (S (S (S (S (S (S (S (S (S (S (S
-      O)))))))))))))))))))))))))))))))))))))))))))))))))))))))))))))))))) (S
-      (S (S (S (S (S (S (S (S (S (S (S (S (S (S (S (S (S (S (S (S (S (S (S (S
-      (S (S (S (S (S (S (S (S (S (S (S (S (S (S (S (S (S (S (S (S (S (S (S (S
-      (S (S (S (S (S (S (S (S (S (S (S (S (S (S (S (S (S (S (S (S
-      O)))))))))))))))))))))))))))))))))))))))))))))))))))))))))))))))))))))
-      (String ((Ascii (true, false, false, true, false, false, true, false)),
-      (String ((Ascii (true, true, false, false, true, false, true, false)),
-      (String ((Ascii (true, true, true, true, false, false, true, false)),
-      (String ((Ascii (false, false, true, false, false, false, true,
-      false)), (String ((Ascii (true, false, true, false, false, true, true,
-      false)), (String ((Ascii (true, true, false, false, true, true, true,
-      false)), (String ((Ascii (false, false, true, false, true, true, true,
-      false)), (String ((Ascii (true, false, false, true, false, true, true,
-      false)), (String ((Ascii (false, true, true, true, false, true, true,
-      false)), (String ((Ascii (true, false, false, false, false, true, true,
-      false)), (String ((Ascii (false, false, true, false, true, true, true,
-      false)), (String ((Ascii (true, false, false, true, false, true, true,
-      false)), (String ((Ascii (true, true, true, true, false, true, true,
-      false)), (String ((Ascii (false, true, true, true, false, true, true,
-      false)), (String ((Ascii (true, true, false, false, false, false, true,
-      false)), (String ((Ascii (true, false, true, false, true, true, true,
-      false)), (String ((Ascii (false, true, false, false, true, true, true,
-      false)), (String ((Ascii (false, true, false, false, true, true, true,
-      false)), (String ((Ascii (true, false, true, false, false, true, true,
-      false)), (String ((Ascii (false, true, true, true, false, true, true,
-      false)), (String ((Ascii (true, true, false, false, false, true, true,
-      false)), (String ((Ascii (true, false, false, true, true, true, true,
-      false)), (String ((Ascii (true, true, false, false, false, false, true,
-      false)), (String ((Ascii (true, true, true, true, false, true, true,
-      false)), (String ((Ascii (false, false, true, false, false, true, true,
-      false)), (String ((Ascii (true, false, true, false, false, true, true,
-      false)),
-      EmptyString))))))))))))))))))))))))))))))))))))))))))))))))))))
-      ((String ((Ascii (false, false, false, false, true, true, true,
-      false)), (String ((Ascii (true, false, false, false, false, true, true,
-      false)), (String ((Ascii (false, true, false, false, true, true, true,
-      false)), (String ((Ascii (true, true, false, false, true, true, true,
-      false)), (String ((Ascii (true, false, true, false, false, true, true,
-      false)), (String ((Ascii (true, true, false, false, true, false, true,
-      false)), (String ((Ascii (false, false, true, false, true, true, true,
-      false)), (String ((Ascii (false, true, false, false, true, true, true,
-      false)), (String ((Ascii (true, false, false, true, false, true, true,
-      false)), (String ((Ascii (false, true, true, true, false, true, true,
-      false)), (String ((Ascii (true, true, true, false, false, true, true,
-      false)), (String ((Ascii (false, true, true, false, false, false, true,
-      false)), (String ((Ascii (true, false, false, true, false, true, true,
-      false)), (String ((Ascii (true, false, true, false, false, true, true,
-      false)), (String ((Ascii (false, false, true, true, false, true, true,
-      false)), (String ((Ascii (false, false, true, false, false, true, true,
-      false)), EmptyString)))))))))))))))))))))))))))))))) :: [])) :: (
-    (mkcut (S (S (S (S (S (S (S (S (S (S (S (S (S (S (S (S (S (S (S (S (S (S
-      (S (S (S (S (S (S (S (S (S (S (S (S (S (S (S (S (S (S (S (S (S (S (S (S
-      (S (S (S (S (S (S (S (S (S (S (S (S (S (S (S (S (S (S (S (S (S (S (S
-      O)))))))))))))))))))))))))))))))))))))))))))))))))))))))))))))))))))))
-      (S (S (S (S (S (S (S (S (S (S (S (S (S (S (S (S (S (S (S (S (S (S (S (S
-      (S (S (S (S (S (S (S (S (S (S (S (S (S (S (S (S (S (S (S (S (S (S (S (S
-      (S (S (S (S (S (S (S (S (S (S (S (S (S (S (S (S (S (S (S (S (S (S (S (S
-      (S (S (S
-      O)))))))))))))))))))))))))))))))))))))))))))))))))))))))))))))))))))))))))))
-      (String ((Ascii (true, false, true, false, false, false, true, false)),
-      (String ((Ascii (false, true, true, false, false, true, true, false)),
-      (String ((Ascii (false, true, true, false, false, true, true, false)),
-      (String ((Ascii (true, false, true, false, false, true, true, false)),
-      (String ((Ascii (true, true, false, false, false, true, true, false)),
-      (String ((Ascii (false, false, true, false, true, true, true, false)),
-      (String ((Ascii (true, false, false, true, false, true, true, false)),
-      (String ((Ascii (false, true, true, false, true, true, true, false)),
-      (String ((Ascii (true, false, true, false, false, true, true, false)),
-      (String ((Ascii (true, false, true, false, false, false, true, false)),
-      (String ((Ascii (false, true, true, true, false, true, true, false)),
-      (String ((Ascii (false, false, true, false, true, true, true, false)),
-      (String ((Ascii (false, true, false, false, true, true, true, false)),
-      (String ((Ascii (true, false, false, true, true, true, true, false)),
-      (String ((Ascii (false, false, true, false, false, false, true,
-      false)), (String ((Ascii (true, false, false, false, false, true, true,
-      false)), (String ((Ascii (false, false, true, false, true, true, true,
-      false)), (String ((Ascii (true, false, true, false, false, true, true,
-      false)), EmptyString)))))))))))))))))))))))))))))))))))) ((String
-      ((Ascii (false, true, true, false, true, true, true, false)), (String
-      ((Ascii (true, false, false, false, false, true, true, false)), (String
-      ((Ascii (false, false, true, true, false, true, true, false)), (String
-      ((Ascii (true, false, false, true, false, true, true, false)), (String
-      ((Ascii (false, false, true, false, false, true, true, false)), (String
-      ((Ascii (true, false, false, false, false, true, true, false)), (String
-      ((Ascii (false, false, true, false, true, true, true, false)), (String
-      ((Ascii (true, false, true, false, false, true, true, false)), (String
-      ((Ascii (true, true, false, false, true, false, true, false)), (String
-      ((Ascii (true, false, false, true, false, true, true, false)), (String
-      ((Ascii (true, false, true, true, false, true, true, false)), (String
-      ((Ascii (false, false, false, false, true, true, true, false)), (String
-      ((Ascii (false, false, true, true, false, true, true, false)), (String
-      ((Ascii (true, false, true, false, false, true, true, false)), (String
-      ((Ascii (false, false, true, false, false, false, true, false)),
-      (String ((Ascii (true, false, false, false, false, true, true, false)),
-      (String ((Ascii (false, false, true, false, true, true, true, false)),
-      (String ((Ascii (true, false, true, false, false, true, true, false)),
-      EmptyString)))))))))))))))))))))))))))))))))))) :: [])) :: ((mkcut (S
-                                                                    (S (S (S
-                                                                    (S (S (S
-                                                                    (S (S (S
-                                                                    (S (S (S
-                                                                    (S (S (S
-                                                                    (S (S (S
-                                                                    (S (S (S
-                                                                    (S (S (S
-                                                                    (S (S (S
-                                                                    (S (S (S
-                                                                    (S (S (S
-                                                                    (S (S (S
-                                                                    (S (S (S
-                                                                    (S (S (S
-                                                                    (S (S (S
-                                                                    (S (S (S
-                                                                    (S (S (S
-                                                                    (S (S (S
-                                                                    (S (S (S
-                                                                    (S (S (S
-                                                                    (S (S (S
-                                                                    (S (S (S
-                                                                    (S (S (S
-                                                                    (S (S (S
-                                                                    (S (S
-                                                                    O)))))))))))))))))))))))))))))))))))))))))))))))))))))))))))))))))))))))))))
-                                                                    (S (S (S
-                                                                    (S (S (S
-                                                                    (S (S (S
-                                                                    (S (S (S
-                                                                    (S (S (S
-                                                                    (S (S (S
-                                                                    (S (S (S
-                                                                    (S (S (S
-                                                                    (S (S (S
-                                                                    (S (S (S
-                                                                    (S (S (S
-                                                                    (S (S (S
-                                                                    (S (S (S
-                                                                    (S (S (S
-                                                                    (S (S (S
-                                                                    (S (S (S
-                                                                    (S (S (S
-                                                                    (S (S (S
-                                                                    (S (S (S
-                                                                    (S (S (S
-                                                                    (S (S (S
-                                                                    (S (S (S
-                                                                    (S (S (S
-                                                                    (S (S (S
-                                                                    (S (S (S
-                                                                    (S (S (S
-                                                                    O))))))))))))))))))))))))))))))))))))))))))))))))))))))))))))))))))))))))))))))
-                                                                    (String
-                                                                    ((Ascii
-                                                                    (true,
-                                                                    true,
-                                                                    false,
-                                                                    false,
-                                                                    true,
-                                                                    false,
-                                                                    true,
-                                                                    false)),
-                                                                    (String
-                                                                    ((Ascii
-                                                                    (true,
-                                                                    false,
-                                                                    true,
-                                                                    false,
-                                                                    false,
-                                                                    true,
-                                                                    true,
-                                                                    false)),
-                                                                    (String
-                                                                    ((Ascii
-                                                                    (false,
-                                                                    false,
-                                                                    true,
-                                                                    false,
-                                                                    true,
-                                                                    true,
-                                                                    true,
-                                                                    false)),
-                                                                    (String
-                                                                    ((Ascii
-                                                                    (false,
-                                                                    false,
-                                                                    true,
-                                                                    false,
-                                                                    true,
-                                                                    true,
-                                                                    true,
-                                                                    false)),
-                                                                    (String
-                                                                    ((Ascii
-                                                                    (false,
-                                                                    false,
-                                                                    true,
-                                                                    true,
-                                                                    false,
-                                                                    true,
-                                                                    true,
-                                                                    false)),
-                                                                    (String
-                                                                    ((Ascii
-                                                                    (true,
-                                                                    false,
-                                                                    true,
-                                                                    false,
-                                                                    false,
-                                                                    true,
-                                                                    true,
-                                                                    false)),
-                                                                    (String
-                                                                    ((Ascii
-                                                                    (true,
-                                                                    false,
-                                                                    true,
-                                                                    true,
-                                                                    false,
-                                                                    true,
-                                                                    true,
-                                                                    false)),
-                                                                    (String
-                                                                    ((Ascii
-                                                                    (true,
-                                                                    false,
-                                                                    true,
-                                                                    false,
-                                                                    false,
-                                                                    true,
-                                                                    true,
-                                                                    false)),
-                                                                    (String
-                                                                    ((Ascii
-                                                                    (false,
-                                                                    true,
-                                                                    true,
-                                                                    true,
-                                                                    false,
-                                                                    true,
-                                                                    true,
-                                                                    false)),
-                                                                    (String
-                                                                    ((Ascii
-                                                                    (false,
-                                                                    false,
-                                                                    true,
-                                                                    false,
-                                                                    true,
-                                                                    true,
-                                                                    true,
-                                                                    false)),
-                                                                    (String
-                                                                    ((Ascii
-                                                                    (false,
-                                                                    false,
-                                                                    true,
-                                                                    false,
-                                                                    false,
-                                                                    false,
-                                                                    true,
-                                                                    false)),
-                                                                    (String
-                                                                    ((Ascii
-                                                                    (true,
-                                                                    false,
-                                                                    false,
-                                                                    false,
-                                                                    false,
-                                                                    true,
-                                                                    true,
-                                                                    false)),
-                                                                    (String
-                                                                    ((Ascii
-                                                                    (false,
-                                                                    false,
-                                                                    true,
-                                                                    false,
-                                                                    true,
-                                                                    true,
-                                                                    true,
-                                                                    false)),
-                                                                    (String
-                                                                    ((Ascii
-                                                                    (true,
-                                                                    false,
-                                                                    true,
-                                                                    false,
-                                                                    false,
-                                                                    true,
-                                                                    true,
-                                                                    false)),
-                                                                    EmptyString))))))))))))))))))))))))))))
-                                                                    ((String
-                                                                    ((Ascii
-                                                                    (false,
-                                                                    true,
-                                                                    true,
-                                                                    false,
-                                                                    true,
-                                                                    true,
-                                                                    true,
-                                                                    false)),
-                                                                    (String
-                                                                    ((Ascii
-                                                                    (true,
-                                                                    false,
-                                                                    false,
-                                                                    false,
-                                                                    false,
-                                                                    true,
-                                                                    true,
-                                                                    false)),
-                                                                    (String
-                                                                    ((Ascii
-                                                                    (false,
-                                                                    false,
-                                                                    true,
-                                                                    true,
-                                                                    false,
-                                                                    true,
-                                                                    true,
-                                                                    false)),
-                                                                    (String
-                                                                    ((Ascii
-                                                                    (true,
-                                                                    false,
-                                                                    false,
-                                                                    true,
-                                                                    false,
-                                                                    true,
-                                                                    true,
-                                                                    false)),
-                                                                    (String
-                                                                    ((Ascii
-                                                                    (false,
-                                                                    false,
-                                                                    true,
-                                                                    false,
-                                                                    false,
-                                                                    true,
-                                                                    true,
-                                                                    false)),
-                                                                    (String
-                                                                    ((Ascii
-                                                                    (true,
-                                                                    false,
-                                                                    false,
-                                                                    false,
-                                                                    false,
-                                                                    true,
-                                                                    true,
-                                                                    false)),
-                                                                    (String
-                                                                    ((Ascii
-                                                                    (false,
-                                                                    false,
-                                                                    true,
-                                                                    false,
-                                                                    true,
-                                                                    true,
-                                                                    true,
-                                                                    false)),
-                                                                    (String
-                                                                    ((Ascii
-                                                                    (true,
-                                                                    false,
-                                                                    true,
-                                                                    false,
-                                                                    false,
-                                                                    true,
-                                                                    true,
-                                                                    false)),
-                                                                    (String
-                                                                    ((Ascii
-                                                                    (true,
-                                                                    true,
-                                                                    false,
-                                                                    false,
-                                                                    true,
-                                                                    false,
-                                                                    true,
-                                                                    false)),
-                                                                    (String
-                                                                    ((Ascii
-                                                                    (true,
-                                                                    false,
-                                                                    true,
-                                                                    false,
-                                                                    false,
-                                                                    true,
-                                                                    true,
-                                                                    false)),
-                                                                    (String
-                                                                    ((Ascii
-                                                                    (false,
-                                                                    false,
-                                                                    true,
-                                                                    false,
-                                                                    true,
-                                                                    true,
-                                                                    true,
-                                                                    false)),
-                                                                    (String
-                                                                    ((Ascii
-                                                                    (false,
-                                                                    false,
-                                                                    true,
-                                                                    false,
-                                                                    true,
-                                                                    true,
-                                                                    true,
-                                                                    false)),
-                                                                    (String
-                                                                    ((Ascii
-                                                                    (false,
-                                                                    false,
-                                                                    true,
-                                                                    true,
-                                                                    false,
-                                                                    true,
-                                                                    true,
-                                                                    false)),
-                                                                    (String
-                                                                    ((Ascii
-                                                                    (true,
-                                                                    false,
-                                                                    true,
-                                                                    false,
-                                                                    false,
-                                                                    true,
-                                                                    true,
-                                                                    false)),
-                                                                    (String
-                                                                    ((Ascii
-                                                                    (true,
-                                                                    false,
-                                                                    true,
-                                                                    true,
-                                                                    false,
-                                                                    true,
-                                                                    true,
-                                                                    false)),
-                                                                    (String
-                                                                    ((Ascii
-                                                                    (true,
-                                                                    false,
-                                                                    true,
-                                                                    false,
-                                                                    false,
-                                                                    true,
-                                                                    true,
-                                                                    false)),
-                                                                    (String
-                                                                    ((Ascii
-                                                                    (false,
-                                                                    true,
-                                                                    true,
-                                                                    true,
-                                                                    false,
-                                                                    true,
-                                                                    true,
-                                                                    false)),
-                                                                    (String
-                                                                    ((Ascii
-                                                                    (false,
-                                                                    false,
-                                                                    true,
-                                                                    false,
-                                                                    true,
-                                                                    true,
-                                                                    true,
-                                                                    false)),
-                                                                    (String
-                                                                    ((Ascii
-                                                                    (false,
-                                                                    false,
-                                                                    true,
-                                                                    false,
-                                                                    false,
-                                                                    false,
-                                                                    true,
-                                                                    false)),
-                                                                    (String
-                                                                    ((Ascii
-                                                                    (true,
-                                                                    false,
-                                                                    false,
-                                                                    false,
-                                                                    false,
-                                                                    true,
-                                                                    true,
-                                                                    false)),
-                                                                    (String
-                                                                    ((Ascii
-                                                                    (false,
-                                                                    false,
-                                                                    true,
-                                                                    false,
-                                                                    true,
-                                                                    true,
-                                                                    true,
-                                                                    false)),
-                                                                    (String
-                                                                    ((Ascii
-                                                                    (true,
-                                                                    false,
-                                                                    true,
-                                                                    false,
-                                                                    false,
-                                                                    true,
-                                                                    true,
-                                                                    false)),
-                                                                    EmptyString)))))))))))))))))))))))))))))))))))))))))))) :: [])) :: (
-    (mkcut (S (S (S (S (S (S (S (S (S (S (S (S (S (S (S (S (S (S (S (S (S (S
-      (S (S (S (S (S (S (S (S (S (S (S (S (S (S (S (S (S (S (S (S (S (S (S (S
-      (S (S (S (S (S (S (S (S (S (S (S (S (S (S (S (S (S (S (S (S (S (S (S (S
-      (S (S (S (S (S (S (S (S
-      O))))))))))))))))))))))))))))))))))))))))))))))))))))))))))))))))))))))))))))))
-      (S (S (S (S (S (S (S (S (S (S (S (S (S (S (S (S (S (S (S (S (S (S (S (S
-      (S (S (S (S (S (S (S (S (S (S (S (S (S (S (S (S (S (S (S (S (S (S (S (S
-      (S (S (S (S (S (S (S (S (S (S (S (S (S (S (S (S (S (S (S (S (S (S (S (S
-      (S (S (S (S (S (S (S
-      O)))))))))))))))))))))))))))))))))))))))))))))))))))))))))))))))))))))))))))))))
-      (String ((Ascii (true, true, true, true, false, false, true, false)),
-      (String ((Ascii (false, true, false, false, true, true, true, false)),
-      (String ((Ascii (true, false, false, true, false, true, true, false)),
-      (String ((Ascii (true, true, true, false, false, true, true, false)),
-      (String ((Ascii (true, false, false, true, false, true, true, false)),
-      (String ((Ascii (false, true, true, true, false, true, true, false)),
-      (String ((Ascii (true, false, false, false, false, true, true, false)),
-      (String ((Ascii (false, false, true, false, true, true, true, false)),
-      (String ((Ascii (true, true, true, true, false, true, true, false)),
-      (String ((Ascii (false, true, false, false, true, true, true, false)),
-      (String ((Ascii (true, true, false, false, true, false, true, false)),
-      (String ((Ascii (false, false, true, false, true, true, true, false)),
-      (String ((Ascii (true, false, false, false, false, true, true, false)),
-      (String ((Ascii (false, false, true, false, true, true, true, false)),
-      (String ((Ascii (true, false, true, false, true, true, true, false)),
-      (String ((Ascii (true, true, false, false, true, true, true, false)),
-      (String ((Ascii (true, true, false, false, false, false, true, false)),
-      (String ((Ascii (true, true, true, true, false, true, true, false)),
-      (String ((Ascii (false, false, true, false, false, true, true, false)),
-      (String ((Ascii (true, false, true, false, false, true, true, false)),
-      EmptyString)))))))))))))))))))))))))))))))))))))))) ((String ((Ascii
-      (false, false, false, false, true, true, true, false)), (String ((Ascii
-      (true, false, false, false, false, true, true, false)), (String ((Ascii
-      (false, true, false, false, true, true, true, false)), (String ((Ascii
-      (true, true, false, false, true, true, true, false)), (String ((Ascii
-      (true, false, true, false, false, true, true, false)), (String ((Ascii
-      (false, true, true, true, false, false, true, false)), (String ((Ascii
-      (true, false, true, false, true, true, true, false)), (String ((Ascii
-      (true, false, true, true, false, true, true, false)), (String ((Ascii
-      (false, true, true, false, false, false, true, false)), (String ((Ascii
-      (true, false, false, true, false, true, true, false)), (String ((Ascii
-      (true, false, true, false, false, true, true, false)), (String ((Ascii
-      (false, false, true, true, false, true, true, false)), (String ((Ascii
-      (false, false, true, false, false, true, true, false)),
-      EmptyString)))))))))))))))))))))))))) :: [])) :: ((mkcut (S (S (S (S (S
-                                                          (S (S (S (S (S (S
-                                                          (S (S (S (S (S (S
-                                                          (S (S (S (S (S (S
-                                                          (S (S (S (S (S (S
-                                                          (S (S (S (S (S (S
-                                                          (S (S (S (S (S (S
-                                                          (S (S (S (S (S (S
-                                                          (S (S (S (S (S (S
-                                                          (S (S (S (S (S (S
-                                                          (S (S (S (S (S (S
-                                                          (S (S (S (S (S (S
-                                                          (S (S (S (S (S (S
-                                                          (S (S
-                                                          O)))))))))))))))))))))))))))))))))))))))))))))))))))))))))))))))))))))))))))))))
-                                                          (S (S (S (S (S (S
-                                                          (S (S (S (S (S (S
-                                                          (S (S (S (S (S (S
-                                                          (S (S (S (S (S (S
-                                                          (S (S (S (S (S (S
-                                                          (S (S (S (S (S (S
-                                                          (S (S (S (S (S (S
-                                                          (S (S (S (S (S (S
-                                                          (S (S (S (S (S (S
-                                                          (S (S (S (S (S (S
-                                                          (S (S (S (S (S (S
-                                                          (S (S (S (S (S (S
-                                                          (S (S (S (S (S (S
-                                                          (S (S (S (S (S (S
-                                                          (S (S (S
-                                                          O)))))))))))))))))))))))))))))))))))))))))))))))))))))))))))))))))))))))))))))))))))))))
-                                                          (String ((Ascii
-                                                          (true, true, true,
-                                                          true, false, false,
-                                                          true, false)),
-                                                          (String ((Ascii
-                                                          (false, false,
-                                                          true, false, false,
-                                                          false, true,
-                                                          false)), (String
-                                                          ((Ascii (false,
-                                                          true, true, false,
-                                                          false, false, true,
-                                                          false)), (String
-                                                          ((Ascii (true,
-                                                          false, false, true,
-                                                          false, false, true,
-                                                          false)), (String
-                                                          ((Ascii (true,
-                                                          false, false, true,
-                                                          false, false, true,
-                                                          false)), (String
-                                                          ((Ascii (false,
-                                                          false, true, false,
-                                                          false, true, true,
-                                                          false)), (String
-                                                          ((Ascii (true,
-                                                          false, true, false,
-                                                          false, true, true,
-                                                          false)), (String
-                                                          ((Ascii (false,
-                                                          true, true, true,
-                                                          false, true, true,
-                                                          false)), (String
-                                                          ((Ascii (false,
-                                                          false, true, false,
-                                                          true, true, true,
-                                                          false)), (String
-                                                          ((Ascii (true,
-                                                          false, false, true,
-                                                          false, true, true,
-                                                          false)), (String
-                                                          ((Ascii (false,
-                                                          true, true, false,
-                                                          false, true, true,
-                                                          false)), (String
-                                                          ((Ascii (true,
-                                                          false, false, true,
-                                                          false, true, true,
-                                                          false)), (String
-                                                          ((Ascii (true,
-                                                          true, false, false,
-                                                          false, true, true,
-                                                          false)), (String
-                                                          ((Ascii (true,
-                                                          false, false,
-                                                          false, false, true,
-                                                          true, false)),
-                                                          (String ((Ascii
-                                                          (false, false,
-                                                          true, false, true,
-                                                          true, true,
-                                                          false)), (String
-                                                          ((Ascii (true,
-                                                          false, false, true,
-                                                          false, true, true,
-                                                          false)), (String
-                                                          ((Ascii (true,
-                                                          true, true, true,
-                                                          false, true, true,
-                                                          false)), (String
-                                                          ((Ascii (false,
-                                                          true, true, true,
-                                                          false, true, true,
-                                                          false)),
-                                                          EmptyString))))))))))))))))))))))))))))))))))))
-                                                          ((String ((Ascii
-                                                          (false, false,
-                                                          false, false, true,
-                                                          true, true,
-                                                          false)), (String
-                                                          ((Ascii (true,
-                                                          false, false,
-                                                          false, false, true,
-                                                          true, false)),
-                                                          (String ((Ascii
-                                                          (false, true,
-                                                          false, false, true,
-                                                          true, true,
-                                                          false)), (String
-                                                          ((Ascii (true,
-                                                          true, false, false,
-                                                          true, true, true,
-                                                          false)), (String
-                                                          ((Ascii (true,
-                                                          false, true, false,
-                                                          false, true, true,
-                                                          false)), (String
-                                                          ((Ascii (true,
-                                                          true, false, false,
-                                                          true, false, true,
-                                                          false)), (String
-                                                          ((Ascii (false,
-                                                          false, true, false,
-                                                          true, true, true,
-                                                          false)), (String
-                                                          ((Ascii (false,
-                                                          true, false, false,
-                                                          true, true, true,
-                                                          false)), (String
-                                                          ((Ascii (true,
-                                                          false, false, true,
-                                                          false, true, true,
-                                                          false)), (String
-                                                          ((Ascii (false,
-                                                          true, true, true,
-                                                          false, true, true,
-                                                          false)), (String
-                                                          ((Ascii (true,
-                                                          true, true, false,
-                                                          false, true, true,
-                                                          false)), (String
-                                                          ((Ascii (false,
-                                                          true, true, false,
-                                                          false, false, true,
-                                                          false)), (String
-                                                          ((Ascii (true,
-                                                          false, false, true,
-                                                          false, true, true,
-                                                          false)), (String
-                                                          ((Ascii (true,
-                                                          false, true, false,
-                                                          false, true, true,
-                                                          false)), (String
-                                                          ((Ascii (false,
-                                                          false, true, true,
-                                                          false, true, true,
-                                                          false)), (String
-                                                          ((Ascii (false,
-                                                          false, true, false,
-                                                          false, true, true,
-                                                          false)),
-                                                          EmptyString)))))))))))))))))))))))))))))))) :: [])) :: (
-    (mkcut (S (S (S (S (S (S (S (S (S (S (S (S (S (S (S (S (S (S (S (S (S (S
-      (S (S (S (S (S (S (S (S (S (S (S (S (S (S (S (S (S (S (S (S (S (S (S (S
-      (S (S (S (S (S (S (S (S (S (S (S (S (S (S (S (S (S (S (S (S (S (S (S (S
-      (S (S (S (S (S (S (S (S (S (S (S (S (S (S (S (S (S
-      O)))))))))))))))))))))))))))))))))))))))))))))))))))))))))))))))))))))))))))))))))))))))
-      (S (S (S (S (S (S (S (S (S (S (S (S (S (S (S (S (S (S (S (S (S (S (S (S
-      (S (S (S (S (S (S (S (S (S (S (S (S (S (S (S (S (S (S (S (S (S (S (S (S
-      (S (S (S (S (S (S (S (S (S (S (S (S (S (S (S (S (S (S (S (S (S (S (S (S
-      (S (S (S (S (S (S (S (S (S (S (S (S (S (S (S (S (S (S (S (S (S (S
-      O))))))))))))))))))))))))))))))))))))))))))))))))))))))))))))))))))))))))))))))))))))))))))))))
-      (String ((Ascii (false, true, false, false, false, false, true,
-      false)), (String ((Ascii (true, false, false, false, false, true, true,
-      false)), (String ((Ascii (false, false, true, false, true, true, true,
-      false)), (String ((Ascii (true, true, false, false, false, true, true,
-      false)), (String ((Ascii (false, false, false, true, false, true, true,
-      false)), (String ((Ascii (false, true, true, true, false, false, true,
-      false)), (String ((Ascii (true, false, true, false, true, true, true,
-      false)), (String ((Ascii (true, false, true, true, false, true, true,
-      false)), (String ((Ascii (false, true, false, false, false, true, true,
-      false)), (String ((Ascii (true, false, true, false, false, true, true,
-      false)), (String ((Ascii (false, true, false, false, true, true, true,
-      false)), EmptyString)))))))))))))))))))))) ((String ((Ascii (false,
-      false, false, false, true, true, true, false)), (String ((Ascii (true,
-      false, false, false, false, true, true, false)), (String ((Ascii
-      (false, true, false, false, true, true, true, false)), (String ((Ascii
-      (true, true, false, false, true, true, true, false)), (String ((Ascii
-      (true, false, true, false, false, true, true, false)), (String ((Ascii
-      (false, true, true, true, false, false, true, false)), (String ((Ascii
-      (true, false, true, false, true, true, true, false)), (String ((Ascii
-      (true, false, true, true, false, true, true, false)), (String ((Ascii
-      (false, true, true, false, false, false, true, false)), (String ((Ascii
-      (true, false, false, true, false, true, true, false)), (String ((Ascii
-      (true, false, true, false, false, true, true, false)), (String ((Ascii
-      (false, false, true, true, false, true, true, false)), (String ((Ascii
-      (false, false, true, false, false, true, true, false)),
-      EmptyString)))))))))))))))))))))))))) :: [])) :: []))))))))))))))))) }
-
-(** val l_IATEntryDetail : layout **)
-
-let l_IATEntryDetail =
-  { l_name = (String ((Ascii (true, false, false, true, false, false, true,
-    false)), (String ((Ascii (true, false, false, false, false, false, true,
-    false)), (String ((Ascii (false, false, true, false, true, false, true,
-    false)), (String ((Ascii (true, false, true, false, false, false, true,
-    false)), (String ((Ascii (false, true, true, true, false, true, true,
-    false)), (String ((Ascii (false, false, true, false, true, true, true,
-    false)), (String ((Ascii (false, true, false, false, true, true, true,
-    false)), (String ((Ascii (true, false, false, true, true, true, true,
-    false)), (String ((Ascii (false, false, true, false, false, false, true,
-    false)), (String ((Ascii (true, false, true, false, false, true, true,
-    false)), (String ((Ascii (false, false, true, false, true, true, true,
-    false)), (String ((Ascii (true, false, false, false, false, true, true,
-    false)), (String ((Ascii (true, false, false, true, false, true, true,
-    false)), (String ((Ascii (false, false, true, true, false, true, true,
-    false)), EmptyString)))))))))))))))))))))))))))); l_ix = IRune; l_segs =
-    ((SLit ((Npos (XO (XI (XI (XO (XI XH)))))) :: [])) :: ((SItoa (String
-    ((Ascii (false, false, true, false, true, false, true, false)), (String
-    ((Ascii (false, true, false, false, true, true, true, false)), (String
-    ((Ascii (true, false, false, false, false, true, true, false)), (String
-    ((Ascii (false, true, true, true, false, true, true, false)), (String
-    ((Ascii (true, true, false, false, true, true, true, false)), (String
-    ((Ascii (true, false, false, false, false, true, true, false)), (String
-    ((Ascii (true, true, false, false, false, true, true, false)), (String
-    ((Ascii (false, false, true, false, true, true, true, false)), (String
-    ((Ascii (true, false, false, true, false, true, true, false)), (String
-    ((Ascii (true, true, true, true, false, true, true, false)), (String
-    ((Ascii (false, true, true, true, false, true, true, false)), (String
-    ((Ascii (true, true, false, false, false, false, true, false)), (String
-    ((Ascii (true, true, true, true, false, true, true, false)), (String
-    ((Ascii (false, false, true, false, false, true, true, false)), (String
-    ((Ascii (true, false, true, false, false, true, true, false)),
-    EmptyString))))))))))))))))))))))))))))))) :: ((SStr ((String ((Ascii
-    (false, true, false, false, true, false, true, false)), (String ((Ascii
-    (false, false, true, false, false, false, true, false)), (String ((Ascii
-    (false, true, true, false, false, false, true, false)), (String ((Ascii
-    (true, false, false, true, false, false, true, false)), (String ((Ascii
-    (true, false, false, true, false, false, true, false)), (String ((Ascii
-    (false, false, true, false, false, true, true, false)), (String ((Ascii
-    (true, false, true, false, false, true, true, false)), (String ((Ascii
-    (false, true, true, true, false, true, true, false)), (String ((Ascii
-    (false, false, true, false, true, true, true, false)), (String ((Ascii
-    (true, false, false, true, false, true, true, false)), (String ((Ascii
-    (false, true, true, false, false, true, true, false)), (String ((Ascii
-    (true, false, false, true, false, true, true, false)), (String ((Ascii
-    (true, true, false, false, false, true, true, false)), (String ((Ascii
-    (true, false, false, false, false, true, true, false)), (String ((Ascii
-    (false, false, true, false, true, true, true, false)), (String ((Ascii
-    (true, false, false, true, false, true, true, false)), (String ((Ascii
-    (true, true, true, true, false, true, true, false)), (String ((Ascii
-    (false, true, true, true, false, true, true, false)),
-    EmptyString)))))))))))))))))))))))))))))))))))), (S (S (S (S (S (S (S (S
-    O)))))))))) :: ((SRaw (String ((Ascii (true, true, false, false, false,
-    false, true, false)), (String ((Ascii (false, false, false, true, false,
-    true, true, false)), (String ((Ascii (true, false, true, false, false,
-    true, true, false)), (String ((Ascii (true, true, false, false, false,
-    true, true, false)), (String ((Ascii (true, true, false, true, false,
-    true, true, false)), (String ((Ascii (false, false, true, false, false,
-    false, true, false)), (String ((Ascii (true, false, false, true, false,
-    true, true, false)), (String ((Ascii (true, true, true, false, false,
-    true, true, false)), (String ((Ascii (true, false, false, true, false,
-    true, true, false)), (String ((Ascii (false, false, true, false, true,
-    true, true, false)), EmptyString))))))))))))))))))))) :: ((SNum ((String
-    ((Ascii (true, false, false, false, false, false, true, false)), (String
-    ((Ascii (false, false, true, false, false, true, true, false)), (String
-    ((Ascii (false, false, true, false, false, true, true, false)), (String
-    ((Ascii (true, false, true, false, false, true, true, false)), (String
-    ((Ascii (false, true, true, true, false, true, true, false)), (String
-    ((Ascii (false, false, true, false, false, true, true, false)), (String
-    ((Ascii (true, false, false, false, false, true, true, false)), (String
-    ((Ascii (false, true, false, false, true, false, true, false)), (String
-    ((Ascii (true, false, true, false, false, true, true, false)), (String
-    ((Ascii (true, true, false, false, false, true, true, false)), (String
-    ((Ascii (true, true, true, true, false, true, true, false)), (String
-    ((Ascii (false, true, false, false, true, true, true, false)), (String
-    ((Ascii (false, false, true, false, false, true, true, false)), (String
-    ((Ascii (true, true, false, false, true, true, true, false)),
-    EmptyString)))))))))))))))))))))))))))), (S (S (S (S O)))))) :: ((SLit
-    ((Npos (XO (XO (XO (XO (XO XH)))))) :: ((Npos (XO (XO (XO (XO (XO
-    XH)))))) :: ((Npos (XO (XO (XO (XO (XO XH)))))) :: ((Npos (XO (XO (XO (XO
-    (XO XH)))))) :: ((Npos (XO (XO (XO (XO (XO XH)))))) :: ((Npos (XO (XO (XO
-    (XO (XO XH)))))) :: ((Npos (XO (XO (XO (XO (XO XH)))))) :: ((Npos (XO (XO
-    (XO (XO (XO XH)))))) :: ((Npos (XO (XO (XO (XO (XO XH)))))) :: ((Npos (XO
-    (XO (XO (XO (XO XH)))))) :: ((Npos (XO (XO (XO (XO (XO XH)))))) :: ((Npos
-    (XO (XO (XO (XO (XO XH)))))) :: ((Npos (XO (XO (XO (XO (XO
-    XH)))))) :: [])))))))))))))) :: ((SNum ((String ((Ascii (true, false,
-    false, false, false, false, true, false)), (String ((Ascii (true, false,
-    true, true, false, true, true, false)), (String ((Ascii (true, true,
-    true, true, false, true, true, false)), (String ((Ascii (true, false,
-    true, false, true, true, true, false)), (String ((Ascii (false, true,
-    true, true, false, true, true, false)), (String ((Ascii (false, false,
-    true, false, true, true, true, false)), EmptyString)))))))))))), (S (S (S
-    (S (S (S (S (S (S (S O)))))))))))) :: ((SAlpha ((String ((Ascii (false,
-    false, true, false, false, false, true, false)), (String ((Ascii (false,
-    true, true, false, false, false, true, false)), (String ((Ascii (true,
-    false, false, true, false, false, true, false)), (String ((Ascii (true,
-    false, false, false, false, false, true, false)), (String ((Ascii (true,
-    true, false, false, false, true, true, false)), (String ((Ascii (true,
-    true, false, false, false, true, true, false)), (String ((Ascii (true,
-    true, true, true, false, true, true, false)), (String ((Ascii (true,
-    false, true, false, true, true, true, false)), (String ((Ascii (false,
-    true, true, true, false, true, true, false)), (String ((Ascii (false,
-    false, true, false, true, true, true, false)), (String ((Ascii (false,
-    true, true, true, false, false, true, false)), (String ((Ascii (true,
-    false, true, false, true, true, true, false)), (String ((Ascii (true,
-    false, true, true, false, true, true, false)), (String ((Ascii (false,
-    true, false, false, false, true, true, false)), (String ((Ascii (true,
-    false, true, false, false, true, true, false)), (String ((Ascii (false,
-    true, false, false, true, true, true, false)),
-    EmptyString)))))))))))))))))))))))))))))))), (S (S (S (S (S (S (S (S (S
-    (S (S (S (S (S (S (S (S (S (S (S (S (S (S (S (S (S (S (S (S (S (S (S (S
-    (S (S O))))))))))))))))))))))))))))))))))))) :: ((SLit ((Npos (XO (XO (XO
-    (XO (XO XH)))))) :: ((Npos (XO (XO (XO (XO (XO
-    XH)))))) :: []))) :: ((SAlpha ((String ((Ascii (true, true, true, true,
-    false, false, true, false)), (String ((Ascii (false, true, true, false,
-    false, false, true, false)), (String ((Ascii (true, false, false, false,
-    false, false, true, false)), (String ((Ascii (true, true, false, false,
-    false, false, true, false)), (String ((Ascii (true, true, false, false,
-    true, false, true, false)), (String ((Ascii (true, true, false, false,
-    false, true, true, false)), (String ((Ascii (false, true, false, false,
-    true, true, true, false)), (String ((Ascii (true, false, true, false,
-    false, true, true, false)), (String ((Ascii (true, false, true, false,
-    false, true, true, false)), (String ((Ascii (false, true, true, true,
-    false, true, true, false)), (String ((Ascii (true, false, false, true,
-    false, true, true, false)), (String ((Ascii (false, true, true, true,
-    false, true, true, false)), (String ((Ascii (true, true, true, false,
-    false, true, true, false)), (String ((Ascii (true, false, false, true,
-    false, false, true, false)), (String ((Ascii (false, true, true, true,
-    false, true, true, false)), (String ((Ascii (false, false, true, false,
-    false, true, true, false)), (String ((Ascii (true, false, false, true,
-    false, true, true, false)), (String ((Ascii (true, true, false, false,
-    false, true, true, false)), (String ((Ascii (true, false, false, false,
-    false, true, true, false)), (String ((Ascii (false, false, true, false,
-    true, true, true, false)), (String ((Ascii (true, true, true, true,
-    false, true, true, false)), (String ((Ascii (false, true, false, false,
-    true, true, true, false)),
-    EmptyString)))))))))))))))))))))))))))))))))))))))))))), (S
-    O))) :: ((SAlpha ((String ((Ascii (true, true, false, false, true, false,
-    true, false)), (String ((Ascii (true, false, true, false, false, true,
-    true, false)), (String ((Ascii (true, true, false, false, false, true,
-    true, false)), (String ((Ascii (true, true, true, true, false, true,
-    true, false)), (String ((Ascii (false, true, true, true, false, true,
-    true, false)), (String ((Ascii (false, false, true, false, false, true,
-    true, false)), (String ((Ascii (true, false, false, false, false, true,
-    true, false)), (String ((Ascii (false, true, false, false, true, true,
-    true, false)), (String ((Ascii (true, false, false, true, true, true,
-    true, false)), (String ((Ascii (true, true, true, true, false, false,
-    true, false)), (String ((Ascii (false, true, true, false, false, false,
-    true, false)), (String ((Ascii (true, false, false, false, false, false,
-    true, false)), (String ((Ascii (true, true, false, false, false, false,
-    true, false)), (String ((Ascii (true, true, false, false, true, false,
-    true, false)), (String ((Ascii (true, true, false, false, false, true,
-    true, false)), (String ((Ascii (false, true, false, false, true, true,
-    true, false)), (String ((Ascii (true, false, true, false, false, true,
-    true, false)), (String ((Ascii (true, false, true, false, false, true,
-    true, false)), (String ((Ascii (false, true, true, true, false, true,
-    true, false)), (String ((Ascii (true, false, false, true, false, true,
-    true, false)), (String ((Ascii (false, true, true, true, false, true,
-    true, false)), (String ((Ascii (true, true, true, false, false, true,
-    true, false)), (String ((Ascii (true, false, false, true, false, false,
-    true, false)), (String ((Ascii (false, true, true, true, false, true,
-    true, false)), (String ((Ascii (false, false, true, false, false, true,
-    true, false)), (String ((Ascii (true, false, false, true, false, true,
-    true, false)), (String ((Ascii (true, true, false, false, false, true,
-    true, false)), (String ((Ascii (true, false, false, false, false, true,
-    true, false)), (String ((Ascii (false, false, true, false, true, true,
-    true, false)), (String ((Ascii (true, true, true, true, false, true,
-    true, false)), (String ((Ascii (false, true, false, false, true, true,
-    true, false)),
-    EmptyString)))))))))))))))))))))))))))))))))))))))))))))))))))))))))))))),
-    (S O))) :: ((SItoa (String ((Ascii (true, false, false, false, false,
-    false, true, false)), (String ((Ascii (false, false, true, false, false,
-    true, true, false)), (String ((Ascii (false, false, true, false, false,
-    true, true, false)), (String ((Ascii (true, false, true, false, false,
-    true, true, false)), (String ((Ascii (false, true, true, true, false,
-    true, true, false)), (String ((Ascii (false, false, true, false, false,
-    true, true, false)), (String ((Ascii (true, false, false, false, false,
-    true, true, false)), (String ((Ascii (false, true, false, false, true,
-    false, true, false)), (String ((Ascii (true, false, true, false, false,
-    true, true, false)), (String ((Ascii (true, true, false, false, false,
-    true, true, false)), (String ((Ascii (true, true, true, true, false,
-    true, true, false)), (String ((Ascii (false, true, false, false, true,
-    true, true, false)), (String ((Ascii (false, false, true, false, false,
-    true, true, false)), (String ((Ascii (true, false, false, true, false,
-    false, true, false)), (String ((Ascii (false, true, true, true, false,
-    true, true, false)), (String ((Ascii (false, false, true, false, false,
-    true, true, false)), (String ((Ascii (true, false, false, true, false,
-    true, true, false)), (String ((Ascii (true, true, false, false, false,
-    true, true, false)), (String ((Ascii (true, false, false, false, false,
-    true, true, false)), (String ((Ascii (false, false, true, false, true,
-    true, true, false)), (String ((Ascii (true, true, true, true, false,
-    true, true, false)), (String ((Ascii (false, true, false, false, true,
-    true, true, false)),
-    EmptyString))))))))))))))))))))))))))))))))))))))))))))) :: ((SStr
-    ((String ((Ascii (false, false, true, false, true, false, true, false)),
-    (String ((Ascii (false, true, false, false, true, true, true, false)),
-    (String ((Ascii (true, false, false, false, false, true, true, false)),
-    (String ((Ascii (true, true, false, false, false, true, true, false)),
-    (String ((Ascii (true, false, true, false, false, true, true, false)),
-    (String ((Ascii (false, true, true, true, false, false, true, false)),
-    (String ((Ascii (true, false, true, false, true, true, true, false)),
-    (String ((Ascii (true, false, true, true, false, true, true, false)),
-    (String ((Ascii (false, true, false, false, false, true, true, false)),
-    (String ((Ascii (true, false, true, false, false, true, true, false)),
-    (String ((Ascii (false, true, false, false, true, true, true, false)),
-    EmptyString)))))))))))))))))))))), (S (S (S (S (S (S (S (S (S (S (S (S (S
-    (S (S O))))))))))))))))) :: []))))))))))))); l_cuts =
-    ((mkcut O (S O) EmptyString []) :: ((mkcut (S O) (S (S (S O))) (String
-                                          ((Ascii (false, false, true, false,
-                                          true, false, true, false)), (String
-                                          ((Ascii (false, true, false, false,
-                                          true, true, true, false)), (String
-                                          ((Ascii (true, false, false, false,
-                                          false, true, true, false)), (String
-                                          ((Ascii (false, true, true, true,
-                                          false, true, true, false)), (String
-                                          ((Ascii (true, true, false, false,
-                                          true, true, true, false)), (String
-                                          ((Ascii (true, false, false, false,
-                                          false, true, true, false)), (String
-                                          ((Ascii (true, true, false, false,
-                                          false, true, true, false)), (String
-                                          ((Ascii (false, false, true, false,
-                                          true, true, true, false)), (String
-                                          ((Ascii (true, false, false, true,
-                                          false, true, true, false)), (String
-                                          ((Ascii (true, true, true, true,
-                                          false, true, true, false)), (String
-                                          ((Ascii (false, true, true, true,
-                                          false, true, true, false)), (String
-                                          ((Ascii (true, true, false, false,
-                                          false, false, true, false)),
-                                          (String ((Ascii (true, true, true,
-                                          true, false, true, true, false)),
-                                          (String ((Ascii (false, false,
-                                          true, false, false, true, true,
-                                          false)), (String ((Ascii (true,
-                                          false, true, false, false, true,
-                                          true, false)),
-                                          EmptyString))))))))))))))))))))))))))))))
-                                          ((String ((Ascii (false, false,
-                                          false, false, true, true, true,
-                                          false)), (String ((Ascii (true,
-                                          false, false, false, false, true,
-                                          true, false)), (String ((Ascii
-                                          (false, true, false, false, true,
-                                          true, true, false)), (String
-                                          ((Ascii (true, true, false, false,
-                                          true, true, true, false)), (String
-                                          ((Ascii (true, false, true, false,
-                                          false, true, true, false)), (String
-                                          ((Ascii (false, true, true, true,
-                                          false, false, true, false)),
-                                          (String ((Ascii (true, false, true,
-                                          false, true, true, true, false)),
-                                          (String ((Ascii (true, false, true,
-                                          true, false, true, true, false)),
-                                          (String ((Ascii (false, true, true,
-                                          false, false, false, true, false)),
-                                          (String ((Ascii (true, false,
-                                          false, true, false, true, true,
-                                          false)), (String ((Ascii (true,
-                                          false, true, false, false, true,
-                                          true, false)), (String ((Ascii
-                                          (false, false, true, true, false,
-                                          true, true, false)), (String
-                                          ((Ascii (false, false, true, false,
-                                          false, true, true, false)),
-                                          EmptyString)))))))))))))))))))))))))) :: [])) :: (
-    (mkcut (S (S (S O))) (S (S (S (S (S (S (S (S (S (S (S O)))))))))))
-      (String ((Ascii (false, true, false, false, true, false, true, false)),
-      (String ((Ascii (false, false, true, false, false, false, true,
-      false)), (String ((Ascii (false, true, true, false, false, false, true,
-      false)), (String ((Ascii (true, false, false, true, false, false, true,
-      false)), (String ((Ascii (true, false, false, true, false, false, true,
-      false)), (String ((Ascii (false, false, true, false, false, true, true,
-      false)), (String ((Ascii (true, false, true, false, false, true, true,
-      false)), (String ((Ascii (false, true, true, true, false, true, true,
-      false)), (String ((Ascii (false, false, true, false, true, true, true,
-      false)), (String ((Ascii (true, false, false, true, false, true, true,
-      false)), (String ((Ascii (false, true, true, false, false, true, true,
-      false)), (String ((Ascii (true, false, false, true, false, true, true,
-      false)), (String ((Ascii (true, true, false, false, false, true, true,
-      false)), (String ((Ascii (true, false, false, false, false, true, true,
-      false)), (String ((Ascii (false, false, true, false, true, true, true,
-      false)), (String ((Ascii (true, false, false, true, false, true, true,
-      false)), (String ((Ascii (true, true, true, true, false, true, true,
-      false)), (String ((Ascii (false, true, true, true, false, true, true,
-      false)), EmptyString)))))))))))))))))))))))))))))))))))) ((String
-      ((Ascii (false, false, false, false, true, true, true, false)), (String
-      ((Ascii (true, false, false, false, false, true, true, false)), (String
-      ((Ascii (false, true, false, false, true, true, true, false)), (String
-      ((Ascii (true, true, false, false, true, true, true, false)), (String
-      ((Ascii (true, false, true, false, false, true, true, false)), (String
-      ((Ascii (true, true, false, false, true, false, true, false)), (String
-      ((Ascii (false, false, true, false, true, true, true, false)), (String
-      ((Ascii (false, true, false, false, true, true, true, false)), (String
-      ((Ascii (true, false, false, true, false, true, true, false)), (String
-      ((Ascii (false, true, true, true, false, true, true, false)), (String
-      ((Ascii (true, true, true, false, false, true, true, false)), (String
-      ((Ascii (false, true, true, false, false, false, true, false)), (String
-      ((Ascii (true, false, false, true, false, true, true, false)), (String
-      ((Ascii (true, false, true, false, false, true, true, false)), (String
-      ((Ascii (false, false, true, true, false, true, true, false)), (String
-      ((Ascii (false, false, true, false, false, true, true, false)),
-      EmptyString)))))))))))))))))))))))))))))))) :: [])) :: ((mkcut (S (S (S
-                                                                (S (S (S (S
-                                                                (S (S (S (S
-                                                                O)))))))))))
-                                                                (S (S (S (S
-                                                                (S (S (S (S
-                                                                (S (S (S (S
-                                                                O))))))))))))
-                                                                (String
-                                                                ((Ascii
-                                                                (true, true,
-                                                                false, false,
-                                                                false, false,
-                                                                true,
-                                                                false)),
-                                                                (String
-                                                                ((Ascii
-                                                                (false,
-                                                                false, false,
-                                                                true, false,
-                                                                true, true,
-                                                                false)),
-                                                                (String
-                                                                ((Ascii
-                                                                (true, false,
-                                                                true, false,
-                                                                false, true,
-                                                                true,
-                                                                false)),
-                                                                (String
-                                                                ((Ascii
-                                                                (true, true,
-                                                                false, false,
-                                                                false, true,
-                                                                true,
-                                                                false)),
-                                                                (String
-                                                                ((Ascii
-                                                                (true, true,
-                                                                false, true,
-                                                                false, true,
-                                                                true,
-                                                                false)),
-                                                                (String
-                                                                ((Ascii
-                                                                (false,
-                                                                false, true,
-                                                                false, false,
-                                                                false, true,
-                                                                false)),
-                                                                (String
-                                                                ((Ascii
-                                                                (true, false,
-                                                                false, true,
-                                                                false, true,
-                                                                true,
-                                                                false)),
-                                                                (String
-                                                                ((Ascii
-                                                                (true, true,
-                                                                true, false,
-                                                                false, true,
-                                                                true,
-                                                                false)),
-                                                                (String
-                                                                ((Ascii
-                                                                (true, false,
-                                                                false, true,
-                                                                false, true,
-                                                                true,
-                                                                false)),
-                                                                (String
-                                                                ((Ascii
-                                                                (false,
-                                                                false, true,
-                                                                false, true,
-                                                                true, true,
-                                                                false)),
-                                                                EmptyString))))))))))))))))))))
-                                                                ((String
-                                                                ((Ascii
-                                                                (false,
-                                                                false, false,
-                                                                false, true,
-                                                                true, true,
-                                                                false)),
-                                                                (String
-                                                                ((Ascii
-                                                                (true, false,
-                                                                false, false,
-                                                                false, true,
-                                                                true,
-                                                                false)),
-                                                                (String
-                                                                ((Ascii
-                                                                (false, true,
-                                                                false, false,
-                                                                true, true,
-                                                                true,
-                                                                false)),
-                                                                (String
-                                                                ((Ascii
-                                                                (true, true,
-                                                                false, false,
-                                                                true, true,
-                                                                true,
-                                                                false)),
-                                                                (String
-                                                                ((Ascii
-                                                                (true, false,
-                                                                true, false,
-                                                                false, true,
-                                                                true,
-                                                                false)),
-                                                                (String
-                                                                ((Ascii
-                                                                (true, true,
-                                                                false, false,
-                                                                true, false,
-                                                                true,
-                                                                false)),
-                                                                (String
-                                                                ((Ascii
-                                                                (false,
-                                                                false, true,
-                                                                false, true,
-                                                                true, true,
-                                                                false)),
-                                                                (String
-                                                                ((Ascii
-                                                                (false, true,
-                                                                false, false,
-                                                                true, true,
-                                                                true,
-                                                                false)),
-                                                                (String
-                                                                ((Ascii
-                                                                (true, false,
-                                                                false, true,
-                                                                false, true,
-                                                                true,
-                                                                false)),
-                                                                (String
-                                                                ((Ascii
-                                                                (false, true,
-                                                                true, true,
-                                                                false, true,
-                                                                true,
-                                                                false)),
-                                                                (String
-                                                                ((Ascii
-                                                                (true, true,
-                                                                true, false,
-                                                                false, true,
-                                                                true,
-                                                                false)),
-                                                                (String
-                                                                ((Ascii
-                                                                (false, true,
-                                                                true, false,
-                                                                false, false,
-                                                                true,
-                                                                false)),
-                                                                (String
-                                                                ((Ascii
-                                                                (true, false,
-                                                                false, true,
-                                                                false, true,
-                                                                true,
-                                                                false)),
-                                                                (String
-                                                                ((Ascii
-                                                                (true, false,
-                                                                true, false,
-                                                                false, true,
-                                                                true,
-                                                                false)),
-                                                                (String
-                                                                ((Ascii
-                                                                (false,
-                                                                false, true,
-                                                                true, false,
-                                                                true, true,
-                                                                false)),
-                                                                (String
-                                                                ((Ascii
-                                                                (false,
-                                                                false, true,
-                                                                false, false,
-                                                                true, true,
-                                                                false)),
-                                                                EmptyString)))))))))))))))))))))))))))))))) :: [])) :: (
-    (mkcut (S (S (S (S (S (S (S (S (S (S (S (S O)))))))))))) (S (S (S (S (S
-      (S (S (S (S (S (S (S (S (S (S (S O)))))))))))))))) (String ((Ascii
-      (true, false, false, false, false, false, true, false)), (String
-      ((Ascii (false, false, true, false, false, true, true, false)), (String
-      ((Ascii (false, false, true, false, false, true, true, false)), (String
-      ((Ascii (true, false, true, false, false, true, true, false)), (String
-      ((Ascii (false, true, true, true, false, true, true, false)), (String
-      ((Ascii (false, false, true, false, false, true, true, false)), (String
-      ((Ascii (true, false, false, false, false, true, true, false)), (String
-      ((Ascii (false, true, false, false, true, false, true, false)), (String
-      ((Ascii (true, false, true, false, false, true, true, false)), (String
-      ((Ascii (true, true, false, false, false, true, true, false)), (String
-      ((Ascii (true, true, true, true, false, true, true, false)), (String
-      ((Ascii (false, true, false, false, true, true, true, false)), (String
-      ((Ascii (false, false, true, false, false, true, true, false)), (String
-      ((Ascii (true, true, false, false, true, true, true, false)),
-      EmptyString)))))))))))))))))))))))))))) ((String ((Ascii (false, false,
-      false, false, true, true, true, false)), (String ((Ascii (true, false,
-      false, false, false, true, true, false)), (String ((Ascii (false, true,
-      false, false, true, true, true, false)), (String ((Ascii (true, true,
-      false, false, true, true, true, false)), (String ((Ascii (true, false,
-      true, false, false, true, true, false)), (String ((Ascii (false, true,
-      true, true, false, false, true, false)), (String ((Ascii (true, false,
-      true, false, true, true, true, false)), (String ((Ascii (true, false,
-      true, true, false, true, true, false)), (String ((Ascii (false, true,
-      true, false, false, false, true, false)), (String ((Ascii (true, false,
-      false, true, false, true, true, false)), (String ((Ascii (true, false,
-      true, false, false, true, true, false)), (String ((Ascii (false, false,
-      true, true, false, true, true, false)), (String ((Ascii (false, false,
-      true, false, false, true, true, false)),
-      EmptyString)))))))))))))))))))))))))) :: [])) :: ((mkcut (S (S (S (S (S
-                                                          (S (S (S (S (S (S
-                                                          (S (S (S (S (S
-                                                          O))))))))))))))))
-                                                          (S (S (S (S (S (S
-                                                          (S (S (S (S (S (S
-                                                          (S (S (S (S (S (S
-                                                          (S (S (S (S (S (S
-                                                          (S (S (S (S (S
-                                                          O)))))))))))))))))))))))))))))
-                                                          EmptyString []) :: (
-    (mkcut (S (S (S (S (S (S (S (S (S (S (S (S (S (S (S (S (S (S (S (S (S (S
-      (S (S (S (S (S (S (S O))))))))))))))))))))))))))))) (S (S (S (S (S (S
-      (S (S (S (S (S (S (S (S (S (S (S (S (S (S (S (S (S (S (S (S (S (S (S (S
-      (S (S (S (S (S (S (S (S (S O)))))))))))))))))))))))))))))))))))))))
-      (String ((Ascii (true, false, false, false, false, false, true,
-      false)), (String ((Ascii (true, false, true, true, false, true, true,
-      false)), (String ((Ascii (true, true, true, true, false, true, true,
-      false)), (String ((Ascii (true, false, true, false, true, true, true,
-      false)), (String ((Ascii (false, true, true, true, false, true, true,
-      false)), (String ((Ascii (false, false, true, false, true, true, true,
-      false)), EmptyString)))))))))))) ((String ((Ascii (false, false, false,
-      false, true, true, true, false)), (String ((Ascii (true, false, false,
-      false, false, true, true, false)), (String ((Ascii (false, true, false,
-      false, true, true, true, false)), (String ((Ascii (true, true, false,
-      false, true, true, true, false)), (String ((Ascii (true, false, true,
-      false, false, true, true, false)), (String ((Ascii (false, true, true,
-      true, false, false, true, false)), (String ((Ascii (true, false, true,
-      false, true, true, true, false)), (String ((Ascii (true, false, true,
-      true, false, true, true, false)), (String ((Ascii (false, true, true,
-      false, false, false, true, false)), (String ((Ascii (true, false,
-      false, true, false, true, true, false)), (String ((Ascii (true, false,
-      true, false, false, true, true, false)), (String ((Ascii (false, false,
-      true, true, false, true, true, false)), (String ((Ascii (false, false,
-      true, false, false, true, true, false)),
-      EmptyString)))))))))))))))))))))))))) :: [])) :: ((mkcut (S (S (S (S (S
-                                                          (S (S (S (S (S (S
-                                                          (S (S (S (S (S (S
-                                                          (S (S (S (S (S (S
-                                                          (S (S (S (S (S (S
-                                                          (S (S (S (S (S (S
-                                                          (S (S (S (S
-                                                          O)))))))))))))))))))))))))))))))))))))))
-                                                          (S (S (S (S (S (S
-                                                          (S (S (S (S (S (S
-                                                          (S (S (S (S (S (S
-                                                          (S (S (S (S (S (S
-                                                          (S (S (S (S (S (S
-                                                          (S (S (S (S (S (S
-                                                          (S (S (S (S (S (S
-                                                          (S (S (S (S (S (S
-                                                          (S (S (S (S (S (S
-                                                          (S (S (S (S (S (S
-                                                          (S (S (S (S (S (S
-                                                          (S (S (S (S (S (S
-                                                          (S (S
-                                                          O))))))))))))))))))))))))))))))))))))))))))))))))))))))))))))))))))))))))))
-                                                          (String ((Ascii
-                                                          (false, false,
-                                                          true, false, false,
-                                                          false, true,
-                                                          false)), (String
-                                                          ((Ascii (false,
-                                                          true, true, false,
-                                                          false, false, true,
-                                                          false)), (String
-                                                          ((Ascii (true,
-                                                          false, false, true,
-                                                          false, false, true,
-                                                          false)), (String
-                                                          ((Ascii (true,
-                                                          false, false,
-                                                          false, false,
-                                                          false, true,
-                                                          false)), (String
-                                                          ((Ascii (true,
-                                                          true, false, false,
-                                                          false, true, true,
-                                                          false)), (String
-                                                          ((Ascii (true,
-                                                          true, false, false,
-                                                          false, true, true,
-                                                          false)), (String
-                                                          ((Ascii (true,
-                                                          true, true, true,
-                                                          false, true, true,
-                                                          false)), (String
-                                                          ((Ascii (true,
-                                                          false, true, false,
-                                                          true, true, true,
-                                                          false)), (String
-                                                          ((Ascii (false,
-                                                          true, true, true,
-                                                          false, true, true,
-                                                          false)), (String
-                                                          ((Ascii (false,
-                                                          false, true, false,
-                                                          true, true, true,
-                                                          false)), (String
-                                                          ((Ascii (false,
-                                                          true, true, true,
-                                                          false, false, true,
-                                                          false)), (String
-                                                          ((Ascii (true,
-                                                          false, true, false,
-                                                          true, true, true,
-                                                          false)), (String
-                                                          ((Ascii (true,
-                                                          false, true, true,
-                                                          false, true, true,
-                                                          false)), (String
-                                                          ((Ascii (false,
-                                                          true, false, false,
-                                                          false, true, true,
-                                                          false)), (String
-                                                          ((Ascii (true,
-                                                          false, true, false,
-                                                          false, true, true,
-                                                          false)), (String
-                                                          ((Ascii (false,
-                                                          true, false, false,
-                                                          true, true, true,
-                                                          false)),
-                                                          EmptyString))))))))))))))))))))))))))))))))
-                                                          ((String ((Ascii
-                                                          (false, false,
-                                                          false, false, true,
-                                                          true, true,
-                                                          false)), (String
-                                                          ((Ascii (true,
-                                                          false, false,
-                                                          false, false, true,
-                                                          true, false)),
-                                                          (String ((Ascii
-                                                          (false, true,
-                                                          false, false, true,
-                                                          true, true,
-                                                          false)), (String
-                                                          ((Ascii (true,
-                                                          true, false, false,
-                                                          true, true, true,
-                                                          false)), (String
-                                                          ((Ascii (true,
-                                                          false, true, false,
-                                                          false, true, true,
-                                                          false)), (String
-                                                          ((Ascii (true,
-                                                          true, false, false,
-                                                          true, false, true,
-                                                          false)), (String
-                                                          ((Ascii (false,
-                                                          false, true, false,
-                                                          true, true, true,
-                                                          false)), (String
-                                                          ((Ascii (false,
-                                                          true, false, false,
-                                                          true, true, true,
-                                                          false)), (String
-                                                          ((Ascii (true,
-                                                          false, false, true,
-                                                          false, true, true,
-                                                          false)), (String
-                                                          ((Ascii (false,
-                                                          true, true, true,
-                                                          false, true, true,
-                                                          false)), (String
-                                                          ((Ascii (true,
-                                                          true, true, false,
-                                                          false, true, true,
-                                                          false)), (String
-                                                          ((Ascii (false,
-                                                          true, true, false,
-                                                          false, false, true,
-                                                          false)), (String
-                                                          ((Ascii (true,
-                                                          false, false, true,
-                                                          false, true, true,
-                                                          false)), (String
-                                                          ((Ascii (true,
-                                                          false, true, false,
-                                                          false, true, true,
-                                                          false)), (String
-                                                          ((Ascii (false,
-                                                          false, true, true,
-                                                          false, true, true,
-                                                          false)), (String
-                                                          ((Ascii (false,
-                                                          false, true, false,
-                                                          false, true, true,
-                                                          false)), (String
-                                                          ((Ascii (true,
-                                                          true, true, false,
-                                                          true, false, true,
-                                                          false)), (String
-                                                          ((Ascii (true,
-                                                          false, false, true,
-                                                          false, true, true,
-                                                          false)), (String
-                                                          ((Ascii (false,
-                                                          false, true, false,
-                                                          true, true, true,
-                                                          false)), (String
-                                                          ((Ascii (false,
-                                                          false, false, true,
-                                                          false, true, true,
-                                                          false)), (String
-                                                          ((Ascii (true,
-                                                          true, true, true,
-                                                          false, false, true,
-                                                          false)), (String
-                                                          ((Ascii (false,
-                                                          false, false,
-                                                          false, true, true,
-                                                          true, false)),
-                                                          (String ((Ascii
-                                                          (false, false,
-                                                          true, false, true,
-                                                          true, true,
-                                                          false)), (String
-                                                          ((Ascii (true,
-                                                          true, false, false,
-                                                          true, true, true,
-                                                          false)),
-                                                          EmptyString)))))))))))))))))))))))))))))))))))))))))))))))) :: [])) :: (
-    (mkcut (S (S (S (S (S (S (S (S (S (S (S (S (S (S (S (S (S (S (S (S (S (S
-      (S (S (S (S (S (S (S (S (S (S (S (S (S (S (S (S (S (S (S (S (S (S (S (S
-      (S (S (S (S (S (S (S (S (S (S (S (S (S (S (S (S (S (S (S (S (S (S (S (S
-      (S (S (S (S
-      O))))))))))))))))))))))))))))))))))))))))))))))))))))))))))))))))))))))))))
-      (S (S (S (S (S (S (S (S (S (S (S (S (S (S (S (S (S (S (S (S (S (S (S (S
-      (S (S (S (S (S (S (S (S (S (S (S (S (S (S (S (S (S (S (S (S (S (S (S (S
-      (S (S (S (S (S (S (S (S (S (S (S (S (S (S (S (S (S (S (S (S (S (S (S (S
-      (S (S (S (S
-      O))))))))))))))))))))))))))))))))))))))))))))))))))))))))))))))))))))))))))))
-      EmptyString []) :: ((mkcut (S (S (S (S (S (S (S (S (S (S (S (S (S (S (S
-                            (S (S (S (S (S (S (S (S (S (S (S (S (S (S (S (S
-                            (S (S (S (S (S (S (S (S (S (S (S (S (S (S (S (S
-                            (S (S (S (S (S (S (S (S (S (S (S (S (S (S (S (S
-                            (S (S (S (S (S (S (S (S (S (S (S (S (S
-                            O))))))))))))))))))))))))))))))))))))))))))))))))))))))))))))))))))))))))))))
-                            (S (S (S (S (S (S (S (S (S (S (S (S (S (S (S (S
-                            (S (S (S (S (S (S (S (S (S (S (S (S (S (S (S (S
-                            (S (S (S (S (S (S (S (S (S (S (S (S (S (S (S (S
-                            (S (S (S (S (S (S (S (S (S (S (S (S (S (S (S (S
-                            (S (S (S (S (S (S (S (S (S (S (S (S (S
-                            O)))))))))))))))))))))))))))))))))))))))))))))))))))))))))))))))))))))))))))))
-                            EmptyString []) :: ((mkconst (String ((Ascii
-                                                  (true, true, true, true,
-                                                  false, false, true,
-                                                  false)), (String ((Ascii
-                                                  (false, true, true, false,
-                                                  false, false, true,
-                                                  false)), (String ((Ascii
-                                                  (true, false, false, false,
-                                                  false, false, true,
-                                                  false)), (String ((Ascii
-                                                  (true, true, false, false,
-                                                  false, false, true,
-                                                  false)), (String ((Ascii
-                                                  (true, true, false, false,
-                                                  true, false, true, false)),
-                                                  (String ((Ascii (true,
-                                                  true, false, false, false,
-                                                  true, true, false)),
-                                                  (String ((Ascii (false,
-                                                  true, false, false, true,
-                                                  true, true, false)),
-                                                  (String ((Ascii (true,
-                                                  false, true, false, false,
-                                                  true, true, false)),
-                                                  (String ((Ascii (true,
-                                                  false, true, false, false,
-                                                  true, true, false)),
-                                                  (String ((Ascii (false,
-                                                  true, true, true, false,
-                                                  true, true, false)),
-                                                  (String ((Ascii (true,
-                                                  false, false, true, false,
-                                                  true, true, false)),
-                                                  (String ((Ascii (false,
-                                                  true, true, true, false,
-                                                  true, true, false)),
-                                                  (String ((Ascii (true,
-                                                  true, true, false, false,
-                                                  true, true, false)),
-                                                  (String ((Ascii (true,
-                                                  false, false, true, false,
-                                                  false, true, false)),
-                                                  (String ((Ascii (false,
-                                                  true, true, true, false,
-                                                  true, true, false)),
-                                                  (String ((Ascii (false,
-                                                  false, true, false, false,
-                                                  true, true, false)),
-                                                  (String ((Ascii (true,
-                                                  false, false, true, false,
-                                                  true, true, false)),
-                                                  (String ((Ascii (true,
-                                                  true, false, false, false,
-                                                  true, true, false)),
-                                                  (String ((Ascii (true,
-                                                  false, false, false, false,
-                                                  true, true, false)),
-                                                  (String ((Ascii (false,
-                                                  false, true, false, true,
-                                                  true, true, false)),
-                                                  (String ((Ascii (true,
-                                                  true, true, true, false,
-                                                  true, true, false)),
-                                                  (String ((Ascii (false,
-                                                  true, false, false, true,
-                                                  true, true, false)),
-                                                  EmptyString))))))))))))))))))))))))))))))))))))))))))))
-                                                  ((Npos (XO (XO (XO (XO (XO
-                                                  XH)))))) :: [])) :: (
-    (mkcut (S (S (S (S (S (S (S (S (S (S (S (S (S (S (S (S (S (S (S (S (S (S
-      (S (S (S (S (S (S (S (S (S (S (S (S (S (S (S (S (S (S (S (S (S (S (S (S
-      (S (S (S (S (S (S (S (S (S (S (S (S (S (S (S (S (S (S (S (S (S (S (S (S
-      (S (S (S (S (S (S (S
-      O)))))))))))))))))))))))))))))))))))))))))))))))))))))))))))))))))))))))))))))
-      (S (S (S (S (S (S (S (S (S (S (S (S (S (S (S (S (S (S (S (S (S (S (S (S
-      (S (S (S (S (S (S (S (S (S (S (S (S (S (S (S (S (S (S (S (S (S (S (S (S
-      (S (S (S (S (S (S (S (S (S (S (S (S (S (S (S (S (S (S (S (S (S (S (S (S
-      (S (S (S (S (S (S
-      O))))))))))))))))))))))))))))))))))))))))))))))))))))))))))))))))))))))))))))))
-      EmptyString []) :: ((mkconst (String ((Ascii (true, true, false, false,
-                            true, false, true, false)), (String ((Ascii
-                            (true, false, true, false, false, true, true,
-                            false)), (String ((Ascii (true, true, false,
-                            false, false, true, true, false)), (String
-                            ((Ascii (true, true, true, true, false, true,
-                            true, false)), (String ((Ascii (false, true,
-                            true, true, false, true, true, false)), (String
-                            ((Ascii (false, false, true, false, false, true,
-                            true, false)), (String ((Ascii (true, false,
-                            false, false, false, true, true, false)), (String
-                            ((Ascii (false, true, false, false, true, true,
-                            true, false)), (String ((Ascii (true, false,
-                            false, true, true, true, true, false)), (String
-                            ((Ascii (true, true, true, true, false, false,
-                            true, false)), (String ((Ascii (false, true,
-                            true, false, false, false, true, false)), (String
-                            ((Ascii (true, false, false, false, false, false,
-                            true, false)), (String ((Ascii (true, true,
-                            false, false, false, false, true, false)),
-                            (String ((Ascii (true, true, false, false, true,
-                            false, true, false)), (String ((Ascii (true,
-                            true, false, false, false, true, true, false)),
-                            (String ((Ascii (false, true, false, false, true,
-                            true, true, false)), (String ((Ascii (true,
-                            false, true, false, false, true, true, false)),
-                            (String ((Ascii (true, false, true, false, false,
-                            true, true, false)), (String ((Ascii (false,
-                            true, true, true, false, true, true, false)),
-                            (String ((Ascii (true, false, false, true, false,
-                            true, true, false)), (String ((Ascii (false,
-                            true, true, true, false, true, true, false)),
-                            (String ((Ascii (true, true, true, false, false,
-                            true, true, false)), (String ((Ascii (true,
-                            false, false, true, false, false, true, false)),
-                            (String ((Ascii (false, true, true, true, false,
-                            true, true, false)), (String ((Ascii (false,
-                            false, true, false, false, true, true, false)),
-                            (String ((Ascii (true, false, false, true, false,
-                            true, true, false)), (String ((Ascii (true, true,
-                            false, false, false, true, true, false)), (String
-                            ((Ascii (true, false, false, false, false, true,
-                            true, false)), (String ((Ascii (false, false,
-                            true, false, true, true, true, false)), (String
-                            ((Ascii (true, true, true, true, false, true,
-                            true, false)), (String ((Ascii (false, true,
-                            false, false, true, true, true, false)),
-                            EmptyString))))))))))))))))))))))))))))))))))))))))))))))))))))))))))))))
-                            ((Npos (XO (XO (XO (XO (XO XH)))))) :: [])) :: (
-    (mkcut (S (S (S (S (S (S (S (S (S (S (S (S (S (S (S (S (S (S (S (S (S (S
-      (S (S (S (S (S (S (S (S (S (S (S (S (S (S (S (S (S (S (S (S (S (S (S (S
-      (S (S (S (S (S (S (S (S (S (S (S (S (S (S (S (S (S (S (S (S (S (S (S (S
-      (S (S (S (S (S (S (S (S
-      O))))))))))))))))))))))))))))))))))))))))))))))))))))))))))))))))))))))))))))))
-      (S (S (S (S (S (S (S (S (S (S (S (S (S (S (S (S (S (S (S (S (S (S (S (S
-      (S (S (S (S (S (S (S (S (S (S (S (S (S (S (S (S (S (S (S (S (S (S (S (S
-      (S (S (S (S (S (S (S (S (S (S (S (S (S (S (S (S (S (S (S (S (S (S (S (S
-      (S (S (S (S (S (S (S
-      O)))))))))))))))))))))))))))))))))))))))))))))))))))))))))))))))))))))))))))))))
-      (String ((Ascii (true, false, false, false, false, false, true,
-      false)), (String ((Ascii (false, false, true, false, false, true, true,
-      false)), (String ((Ascii (false, false, true, false, false, true, true,
-      false)), (String ((Ascii (true, false, true, false, false, true, true,
-      false)), (String ((Ascii (false, true, true, true, false, true, true,
-      false)), (String ((Ascii (false, false, true, false, false, true, true,
-      false)), (String ((Ascii (true, false, false, false, false, true, true,
-      false)), (String ((Ascii (false, true, false, false, true, false, true,
-      false)), (String ((Ascii (true, false, true, false, false, true, true,
-      false)), (String ((Ascii (true, true, false, false, false, true, true,
-      false)), (String ((Ascii (true, true, true, true, false, true, true,
-      false)), (String ((Ascii (false, true, false, false, true, true, true,
-      false)), (String ((Ascii (false, false, true, false, false, true, true,
-      false)), (String ((Ascii (true, false, false, true, false, false, true,
-      false)), (String ((Ascii (false, true, true, true, false, true, true,
-      false)), (String ((Ascii (false, false, true, false, false, true, true,
-      false)), (String ((Ascii (true, false, false, true, false, true, true,
-      false)), (String ((Ascii (true, true, false, false, false, true, true,
-      false)), (String ((Ascii (true, false, false, false, false, true, true,
-      false)), (String ((Ascii (false, false, true, false, true, true, true,
-      false)), (String ((Ascii (true, true, true, true, false, true, true,
-      false)), (String ((Ascii (false, true, false, false, true, true, true,
-      false)), EmptyString))))))))))))))))))))))))))))))))))))))))))))
-      ((String ((Ascii (false, false, false, false, true, true, true,
-      false)), (String ((Ascii (true, false, false, false, false, true, true,
-      false)), (String ((Ascii (false, true, false, false, true, true, true,
-      false)), (String ((Ascii (true, true, false, false, true, true, true,
-      false)), (String ((Ascii (true, false, true, false, false, true, true,
-      false)), (String ((Ascii (false, true, true, true, false, false, true,
-      false)), (String ((Ascii (true, false, true, false, true, true, true,
-      false)), (String ((Ascii (true, false, true, true, false, true, true,
-      false)), (String ((Ascii (false, true, true, false, false, false, true,
-      false)), (String ((Ascii (true, false, false, true, false, true, true,
-      false)), (String ((Ascii (true, false, true, false, false, true, true,
-      false)), (String ((Ascii (false, false, true, true, false, true, true,
-      false)), (String ((Ascii (false, false, true, false, false, true, true,
-      false)), EmptyString)))))))))))))))))))))))))) :: [])) :: ((mkcut (S (S
-                                                                   (S (S (S
-                                                                   (S (S (S
-                                                                   (S (S (S
-                                                                   (S (S (S
-                                                                   (S (S (S
-                                                                   (S (S (S
-                                                                   (S (S (S
-                                                                   (S (S (S
-                                                                   (S (S (S
-                                                                   (S (S (S
-                                                                   (S (S (S
-                                                                   (S (S (S
-                                                                   (S (S (S
-                                                                   (S (S (S
-                                                                   (S (S (S
-                                                                   (S (S (S
-                                                                   (S (S (S
-                                                                   (S (S (S
-                                                                   (S (S (S
-                                                                   (S (S (S
-                                                                   (S (S (S
-                                                                   (S (S (S
-                                                                   (S (S (S
-                                                                   (S (S (S
-                                                                   (S (S (S
-                                                                   (S (S
-                                                                   O)))))))))))))))))))))))))))))))))))))))))))))))))))))))))))))))))))))))))))))))
-                                                                   (S (S (S
-                                                                   (S (S (S
-                                                                   (S (S (S
-                                                                   (S (S (S
-                                                                   (S (S (S
-                                                                   (S (S (S
-                                                                   (S (S (S
-                                                                   (S (S (S
-                                                                   (S (S (S
-                                                                   (S (S (S
-                                                                   (S (S (S
-                                                                   (S (S (S
-                                                                   (S (S (S
-                                                                   (S (S (S
-                                                                   (S (S (S
-                                                                   (S (S (S
-                                                                   (S (S (S
-                                                                   (S (S (S
-                                                                   (S (S (S
-                                                                   (S (S (S
-                                                                   (S (S (S
-                                                                   (S (S (S
-                                                                   (S (S (S
-                                                                   (S (S (S
-                                                                   (S (S (S
-                                                                   (S (S (S
-                                                                   (S (S (S
-                                                                   (S (S (S
-                                                                   (S (S (S
-                                                                   (S (S (S
-                                                                   (S (S (S
-                                                                   (S
-                                                                   O))))))))))))))))))))))))))))))))))))))))))))))))))))))))))))))))))))))))))))))))))))))))))))))
-                                                                   (String
-                                                                   ((Ascii
-                                                                   (false,
-                                                                   false,
-                                                                   true,
-                                                                   false,
-                                                                   true,
-                                                                   false,
-                                                                   true,
-                                                                   false)),
-                                                                   (String
-                                                                   ((Ascii
-                                                                   (false,
-                                                                   true,
-                                                                   false,
-                                                                   false,
-                                                                   true,
-                                                                   true,
-                                                                   true,
-                                                                   false)),
-                                                                   (String
-                                                                   ((Ascii
-                                                                   (true,
-                                                                   false,
-                                                                   false,
-                                                                   false,
-                                                                   false,
-                                                                   true,
-                                                                   true,
-                                                                   false)),
-                                                                   (String
-                                                                   ((Ascii
-                                                                   (true,
-                                                                   true,
-                                                                   false,
-                                                                   false,
-                                                                   false,
-                                                                   true,
-                                                                   true,
-                                                                   false)),
-                                                                   (String
-                                                                   ((Ascii
-                                                                   (true,
-                                                                   false,
-                                                                   true,
-                                                                   false,
-                                                                   false,
-                                                                   true,
-                                                                   true,
-                                                                   false)),
-                                                                   (String
-                                                                   ((Ascii
-                                                                   (false,
-                                                                   true,
-                                                                   true,
-                                                                   true,
-                                                                   false,
-                                                                   false,
-                                                                   true,
-                                                                   false)),
-                                                                   (String
-                                                                   ((Ascii
-                                                                   (true,
-                                                                   false,
-                                                                   true,
-                                                                   false,
-                                                                   true,
-                                                                   true,
-                                                                   true,
-                                                                   false)),
-                                                                   (String
-                                                                   ((Ascii
-                                                                   (true,
-                                                                   false,
-                                                                   true,
-                                                                   true,
-                                                                   false,
-                                                                   true,
-                                                                   true,
-                                                                   false)),
-                                                                   (String
-                                                                   ((Ascii
-                                                                   (false,
-                                                                   true,
-                                                                   false,
-                                                                   false,
-                                                                   false,
-                                                                   true,
-                                                                   true,
-                                                                   false)),
-                                                                   (String
-                                                                   ((Ascii
-                                                                   (true,
-                                                                   false,
-                                                                   true,
-                                                                   false,
-                                                                   false,
-                                                                   true,
-                                                                   true,
-                                                                   false)),
-                                                                   (String
-                                                                   ((Ascii
-                                                                   (false,
-                                                                   true,
-                                                                   false,
-                                                                   false,
-                                                                   true,
-                                                                   true,
-                                                                   true,
-                                                                   false)),
-                                                                   EmptyString))))))))))))))))))))))
-                                                                   ((String
-                                                                   ((Ascii
-                                                                   (true,
-                                                                   true,
-                                                                   false,
-                                                                   false,
-                                                                   true,
-                                                                   true,
-                                                                   true,
-                                                                   false)),
-                                                                   (String
-                                                                   ((Ascii
-                                                                   (false,
-                                                                   false,
-                                                                   true,
-                                                                   false,
-                                                                   true,
-                                                                   true,
-                                                                   true,
-                                                                   false)),
-                                                                   (String
-                                                                   ((Ascii
-                                                                   (false,
-                                                                   true,
-                                                                   false,
-                                                                   false,
-                                                                   true,
-                                                                   true,
-                                                                   true,
-                                                                   false)),
-                                                                   (String
-                                                                   ((Ascii
-                                                                   (true,
-                                                                   false,
-                                                                   false,
-                                                                   true,
-                                                                   false,
-                                                                   true,
-                                                                   true,
-                                                                   false)),
-                                                                   (String
-                                                                   ((Ascii
-                                                                   (false,
-                                                                   true,
-                                                                   true,
-                                                                   true,
-                                                                   false,
-                                                                   true,
-                                                                   true,
-                                                                   false)),
-                                                                   (String
-                                                                   ((Ascii
-                                                                   (true,
-                                                                   true,
-                                                                   true,
-                                                                   false,
-                                                                   false,
-                                                                   true,
-                                                                   true,
-                                                                   false)),
-                                                                   (String
-                                                                   ((Ascii
-                                                                   (true,
-                                                                   true,
-                                                                   false,
-                                                                   false,
-                                                                   true,
-                                                                   true,
-                                                                   true,
-                                                                   false)),
-                                                                   (String
-                                                                   ((Ascii
-                                                                   (false,
-                                                                   true,
-                                                                   true,
-                                                                   true,
-                                                                   false,
-                                                                   true,
-                                                                   false,
-                                                                   false)),
-                                                                   (String
-                                                                   ((Ascii
-                                                                   (false,
-                                                                   false,
-                                                                   true,
-                                                                   false,
-                                                                   true,
-                                                                   false,
-                                                                   true,
-                                                                   false)),
-                                                                   (String
-                                                                   ((Ascii
-                                                                   (false,
-                                                                   true,
-                                                                   false,
-                                                                   false,
-                                                                   true,
-                                                                   true,
-                                                                   true,
-                                                                   false)),
-                                                                   (String
-                                                                   ((Ascii
-                                                                   (true,
-                                                                   false,
-                                                                   false,
-                                                                   true,
-                                                                   false,
-                                                                   true,
-                                                                   true,
-                                                                   false)),
-                                                                   (String
-                                                                   ((Ascii
-                                                                   (true,
-                                                                   false,
-                                                                   true,
-                                                                   true,
-                                                                   false,
-                                                                   true,
-                                                                   true,
-                                                                   false)),
-                                                                   (String
-                                                                   ((Ascii
-                                                                   (true,
-                                                                   true,
-                                                                   false,
-                                                                   false,
-                                                                   true,
-                                                                   false,
-                                                                   true,
-                                                                   false)),
-                                                                   (String
-                                                                   ((Ascii
-                                                                   (false,
-                                                                   false,
-                                                                   false,
-                                                                   false,
-                                                                   true,
-                                                                   true,
-                                                                   true,
-                                                                   false)),
-                                                                   (String
-                                                                   ((Ascii
-                                                                   (true,
-                                                                   false,
-                                                                   false,
-                                                                   false,
-                                                                   false,
-                                                                   true,
-                                                                   true,
-                                                                   false)),
-                                                                   (String
-                                                                   ((Ascii
-                                                                   (true,
-                                                                   true,
-                                                                   false,
-                                                                   false,
-                                                                   false,
-                                                                   true,
-                                                                   true,
-                                                                   false)),
-                                                                   (String
-                                                                   ((Ascii
-                                                                   (true,
-                                                                   false,
-                                                                   true,
-                                                                   false,
-                                                                   false,
-                                                                   true,
-                                                                   true,
-                                                                   false)),
-                                                                   EmptyString)))))))))))))))))))))))))))))))))) :: [])) :: []))))))))))))))) }
-
-(** val all_layouts : layout list **)
-
-let all_layouts =
-  l_ADVBatchControl :: (l_ADVEntryDetail :: (l_ADVFileControl :: (l_Addenda02 :: (l_Addenda05 :: (l_Addenda10 :: (l_Addenda11 :: (l_Addenda12 :: (l_Addenda13 :: (l_Addenda14 :: (l_Addenda15 :: (l_Addenda16 :: (l_Addenda17 :: (l_Addenda18 :: (l_Addenda98 :: (l_Addenda98Refused :: (l_Addenda99 :: (l_Addenda99Contested :: (l_Addenda99Dishonored :: (l_BatchControl :: (l_BatchHeader :: (l_EntryDetail :: (l_FileControl :: (l_FileHeader :: (l_IATBatchHeader :: (l_IATEntryDetail :: [])))))))))))))))))))))))))
+let current_rpolicy =
+  { r_ctor = Propagate; r_scan = Propagate }
